@@ -9,10 +9,11 @@ type nat =
 | O
 | S of nat
 
-(** val fst : ('a1 * 'a2) -> 'a1 **)
+(** val option_map : ('a1 -> 'a2) -> 'a1 option -> 'a2 option **)
 
-let fst = function
-| (x, _) -> x
+let option_map f = function
+| Some a -> Some (f a)
+| None -> None
 
 (** val snd : ('a1 * 'a2) -> 'a2 **)
 
@@ -44,29 +45,6 @@ let compOpp = function
 | Lt -> Gt
 | Gt -> Lt
 
-module Coq__1 = struct
- (** val add : nat -> nat -> nat **)
- let rec add n0 m =
-   match n0 with
-   | O -> m
-   | S p -> S (add p m)
-end
-include Coq__1
-
-(** val sub : nat -> nat -> nat **)
-
-let rec sub n0 m =
-  match n0 with
-  | O -> n0
-  | S k -> (match m with
-            | O -> n0
-            | S l -> sub k l)
-
-(** val eqb : bool -> bool -> bool **)
-
-let eqb b1 b2 =
-  if b1 then b2 else if b2 then false else true
-
 module Nat =
  struct
   (** val eqb : nat -> nat -> bool **)
@@ -95,6 +73,54 @@ module Nat =
     leb (S n0) m
  end
 
+(** val nth : nat -> 'a1 list -> 'a1 -> 'a1 **)
+
+let rec nth n0 l default =
+  match n0 with
+  | O -> (match l with
+          | [] -> default
+          | x :: _ -> x)
+  | S m -> (match l with
+            | [] -> default
+            | _ :: t -> nth m t default)
+
+(** val concat : 'a1 list list -> 'a1 list **)
+
+let rec concat = function
+| [] -> []
+| x :: l0 -> app x (concat l0)
+
+(** val map : ('a1 -> 'a2) -> 'a1 list -> 'a2 list **)
+
+let rec map f = function
+| [] -> []
+| a :: t -> (f a) :: (map f t)
+
+(** val fold_left : ('a1 -> 'a2 -> 'a1) -> 'a2 list -> 'a1 -> 'a1 **)
+
+let rec fold_left f l a0 =
+  match l with
+  | [] -> a0
+  | b :: t -> fold_left f t (f a0 b)
+
+(** val existsb : ('a1 -> bool) -> 'a1 list -> bool **)
+
+let rec existsb f = function
+| [] -> false
+| a :: l0 -> (||) (f a) (existsb f l0)
+
+(** val forallb : ('a1 -> bool) -> 'a1 list -> bool **)
+
+let rec forallb f = function
+| [] -> true
+| a :: l0 -> (&&) (f a) (forallb f l0)
+
+(** val filter : ('a1 -> bool) -> 'a1 list -> 'a1 list **)
+
+let rec filter f = function
+| [] -> []
+| x :: l0 -> if f x then x :: (filter f l0) else filter f l0
+
 type positive =
 | XI of positive
 | XO of positive
@@ -110,14 +136,6 @@ type z =
 | Zneg of positive
 
 module Pos =
- struct
-  type mask =
-  | IsNul
-  | IsPos of positive
-  | IsNeg
- end
-
-module Coq_Pos =
  struct
   (** val succ : positive -> positive **)
 
@@ -172,80 +190,6 @@ module Coq_Pos =
   | XO p -> XI (pred_double p)
   | XH -> XH
 
-  type mask = Pos.mask =
-  | IsNul
-  | IsPos of positive
-  | IsNeg
-
-  (** val succ_double_mask : mask -> mask **)
-
-  let succ_double_mask = function
-  | IsNul -> IsPos XH
-  | IsPos p -> IsPos (XI p)
-  | IsNeg -> IsNeg
-
-  (** val double_mask : mask -> mask **)
-
-  let double_mask = function
-  | IsPos p -> IsPos (XO p)
-  | x0 -> x0
-
-  (** val double_pred_mask : positive -> mask **)
-
-  let double_pred_mask = function
-  | XI p -> IsPos (XO (XO p))
-  | XO p -> IsPos (XO (pred_double p))
-  | XH -> IsNul
-
-  (** val sub_mask : positive -> positive -> mask **)
-
-  let rec sub_mask x y =
-    match x with
-    | XI p ->
-      (match y with
-       | XI q -> double_mask (sub_mask p q)
-       | XO q -> succ_double_mask (sub_mask p q)
-       | XH -> IsPos (XO p))
-    | XO p ->
-      (match y with
-       | XI q -> succ_double_mask (sub_mask_carry p q)
-       | XO q -> double_mask (sub_mask p q)
-       | XH -> IsPos (pred_double p))
-    | XH -> (match y with
-             | XH -> IsNul
-             | _ -> IsNeg)
-
-  (** val sub_mask_carry : positive -> positive -> mask **)
-
-  and sub_mask_carry x y =
-    match x with
-    | XI p ->
-      (match y with
-       | XI q -> succ_double_mask (sub_mask_carry p q)
-       | XO q -> double_mask (sub_mask p q)
-       | XH -> IsPos (pred_double p))
-    | XO p ->
-      (match y with
-       | XI q -> double_mask (sub_mask_carry p q)
-       | XO q -> succ_double_mask (sub_mask_carry p q)
-       | XH -> double_pred_mask p)
-    | XH -> IsNeg
-
-  (** val mul : positive -> positive -> positive **)
-
-  let rec mul x y =
-    match x with
-    | XI p -> add y (XO (mul p y))
-    | XO p -> XO (mul p y)
-    | XH -> y
-
-  (** val size : positive -> positive **)
-
-  let rec size = function
-  | XI p0 -> succ (size p0)
-  | XO p0 -> succ (size p0)
-  | XH -> XH
-
   (** val compare_cont : comparison -> positive -> positive -> comparison **)
 
   let rec compare_cont r x y =
@@ -282,66 +226,10 @@ module Coq_Pos =
     | XH -> (match q with
              | XH -> true
              | _ -> false)
-
-  (** val iter_op : ('a1 -> 'a1 -> 'a1) -> positive -> 'a1 -> 'a1 **)
-
-  let rec iter_op op p a =
-    match p with
-    | XI p0 -> op a (iter_op op p0 (op a a))
-    | XO p0 -> iter_op op p0 (op a a)
-    | XH -> a
-
-  (** val to_nat : positive -> nat **)
-
-  let to_nat x =
-    iter_op Coq__1.add x (S O)
  end
 
 module N =
  struct
-  (** val succ_double : n -> n **)
-
-  let succ_double = function
-  | N0 -> Npos XH
-  | Npos p -> Npos (XI p)
-
-  (** val double : n -> n **)
-
-  let double = function
-  | N0 -> N0
-  | Npos p -> Npos (XO p)
-
-  (** val add : n -> n -> n **)
-
-  let add n0 m =
-    match n0 with
-    | N0 -> m
-    | Npos p -> (match m with
-                 | N0 -> n0
-                 | Npos q -> Npos (Coq_Pos.add p q))
-
-  (** val sub : n -> n -> n **)
-
-  let sub n0 m =
-    match n0 with
-    | N0 -> N0
-    | Npos n' ->
-      (match m with
-       | N0 -> n0
-       | Npos m' ->
-         (match Coq_Pos.sub_mask n' m' with
-          | Coq_Pos.IsPos p -> Npos p
-          | _ -> N0))
-
-  (** val mul : n -> n -> n **)
-
-  let mul n0 m =
-    match n0 with
-    | N0 -> N0
-    | Npos p -> (match m with
-                 | N0 -> N0
-                 | Npos q -> Npos (Coq_Pos.mul p q))
-
   (** val compare : n -> n -> comparison **)
 
   let compare n0 m =
@@ -351,7 +239,7 @@ module N =
              | Npos _ -> Lt)
     | Npos n' -> (match m with
                   | N0 -> Gt
-                  | Npos m' -> Coq_Pos.compare n' m')
+                  | Npos m' -> Pos.compare n' m')
 
   (** val eqb : n -> n -> bool **)
 
@@ -362,14 +250,7 @@ module N =
              | Npos _ -> false)
     | Npos p -> (match m with
                  | N0 -> false
-                 | Npos q -> Coq_Pos.eqb p q)
-
-  (** val leb : n -> n -> bool **)
-
-  let leb x y =
-    match compare x y with
-    | Gt -> false
-    | _ -> true
+                 | Npos q -> Pos.eqb p q)
 
   (** val ltb : n -> n -> bool **)
 
@@ -377,115 +258,7 @@ module N =
     match compare x y with
     | Lt -> true
     | _ -> false
-
-  (** val log2 : n -> n **)
-
-  let log2 = function
-  | N0 -> N0
-  | Npos p0 ->
-    (match p0 with
-     | XI p -> Npos (Coq_Pos.size p)
-     | XO p -> Npos (Coq_Pos.size p)
-     | XH -> N0)
-
-  (** val pos_div_eucl : positive -> n -> n * n **)
-
-  let rec pos_div_eucl a b =
-    match a with
-    | XI a' ->
-      let (q, r) = pos_div_eucl a' b in
-      let r' = succ_double r in
-      if leb b r' then ((succ_double q), (sub r' b)) else ((double q), r')
-    | XO a' ->
-      let (q, r) = pos_div_eucl a' b in
-      let r' = double r in
-      if leb b r' then ((succ_double q), (sub r' b)) else ((double q), r')
-    | XH ->
-      (match b with
-       | N0 -> (N0, (Npos XH))
-       | Npos p -> (match p with
-                    | XH -> ((Npos XH), N0)
-                    | _ -> (N0, (Npos XH))))
-
-  (** val div_eucl : n -> n -> n * n **)
-
-  let div_eucl a b =
-    match a with
-    | N0 -> (N0, N0)
-    | Npos na -> (match b with
-                  | N0 -> (N0, a)
-                  | Npos _ -> pos_div_eucl na b)
-
-  (** val div : n -> n -> n **)
-
-  let div a b =
-    fst (div_eucl a b)
-
-  (** val modulo : n -> n -> n **)
-
-  let modulo a b =
-    snd (div_eucl a b)
-
-  (** val to_nat : n -> nat **)
-
-  let to_nat = function
-  | N0 -> O
-  | Npos p -> Coq_Pos.to_nat p
  end
-
-(** val rev : 'a1 list -> 'a1 list **)
-
-let rec rev = function
-| [] -> []
-| x :: l' -> app (rev l') (x :: [])
-
-(** val concat : 'a1 list list -> 'a1 list **)
-
-let rec concat = function
-| [] -> []
-| x :: l0 -> app x (concat l0)
-
-(** val map : ('a1 -> 'a2) -> 'a1 list -> 'a2 list **)
-
-let rec map f = function
-| [] -> []
-| a :: t -> (f a) :: (map f t)
-
-(** val flat_map : ('a1 -> 'a2 list) -> 'a1 list -> 'a2 list **)
-
-let rec flat_map f = function
-| [] -> []
-| x :: t -> app (f x) (flat_map f t)
-
-(** val forallb : ('a1 -> bool) -> 'a1 list -> bool **)
-
-let rec forallb f = function
-| [] -> true
-| a :: l0 -> (&&) (f a) (forallb f l0)
-
-(** val firstn : nat -> 'a1 list -> 'a1 list **)
-
-let rec firstn n0 l =
-  match n0 with
-  | O -> []
-  | S n1 -> (match l with
-             | [] -> []
-             | a :: l0 -> a :: (firstn n1 l0))
-
-(** val skipn : nat -> 'a1 list -> 'a1 list **)
-
-let rec skipn n0 l =
-  match n0 with
-  | O -> l
-  | S n1 -> (match l with
-             | [] -> []
-             | _ :: l0 -> skipn n1 l0)
-
-(** val repeat : 'a1 -> nat -> 'a1 list **)
-
-let rec repeat x = function
-| O -> []
-| S k -> x :: (repeat x k)
 
 module Z =
  struct
@@ -501,13 +274,13 @@ module Z =
   let succ_double = function
   | Z0 -> Zpos XH
   | Zpos p -> Zpos (XI p)
-  | Zneg p -> Zneg (Coq_Pos.pred_double p)
+  | Zneg p -> Zneg (Pos.pred_double p)
 
   (** val pred_double : z -> z **)
 
   let pred_double = function
   | Z0 -> Zneg XH
-  | Zpos p -> Zpos (Coq_Pos.pred_double p)
+  | Zpos p -> Zpos (Pos.pred_double p)
   | Zneg p -> Zneg (XI p)
 
   (** val pos_sub : positive -> positive -> z **)
@@ -523,11 +296,11 @@ module Z =
       (match y with
        | XI q -> pred_double (pos_sub p q)
        | XO q -> double (pos_sub p q)
-       | XH -> Zpos (Coq_Pos.pred_double p))
+       | XH -> Zpos (Pos.pred_double p))
     | XH ->
       (match y with
        | XI q -> Zneg (XO q)
-       | XO q -> Zneg (Coq_Pos.pred_double q)
+       | XO q -> Zneg (Pos.pred_double q)
        | XH -> Z0)
 
   (** val add : z -> z -> z **)
@@ -538,36 +311,13 @@ module Z =
     | Zpos x' ->
       (match y with
        | Z0 -> x
-       | Zpos y' -> Zpos (Coq_Pos.add x' y')
+       | Zpos y' -> Zpos (Pos.add x' y')
        | Zneg y' -> pos_sub x' y')
     | Zneg x' ->
       (match y with
        | Z0 -> x
        | Zpos y' -> pos_sub y' x'
-       | Zneg y' -> Zneg (Coq_Pos.add x' y'))
-
-  (** val opp : z -> z **)
-
-  let opp = function
-  | Z0 -> Z0
-  | Zpos x0 -> Zneg x0
-  | Zneg x0 -> Zpos x0
-
-  (** val mul : z -> z -> z **)
-
-  let mul x y =
-    match x with
-    | Z0 -> Z0
-    | Zpos x' ->
-      (match y with
-       | Z0 -> Z0
-       | Zpos y' -> Zpos (Coq_Pos.mul x' y')
-       | Zneg y' -> Zneg (Coq_Pos.mul x' y'))
-    | Zneg x' ->
-      (match y with
-       | Z0 -> Z0
-       | Zpos y' -> Zneg (Coq_Pos.mul x' y')
-       | Zneg y' -> Zpos (Coq_Pos.mul x' y'))
+       | Zneg y' -> Zneg (Pos.add x' y'))
 
   (** val compare : z -> z -> comparison **)
 
@@ -578,91 +328,22 @@ module Z =
              | Zpos _ -> Lt
              | Zneg _ -> Gt)
     | Zpos x' -> (match y with
-                  | Zpos y' -> Coq_Pos.compare x' y'
+                  | Zpos y' -> Pos.compare x' y'
                   | _ -> Gt)
     | Zneg x' ->
       (match y with
-       | Zneg y' -> compOpp (Coq_Pos.compare x' y')
+       | Zneg y' -> compOpp (Pos.compare x' y')
        | _ -> Lt)
 
-  (** val leb : z -> z -> bool **)
+  (** val ltb : z -> z -> bool **)
 
-  let leb x y =
+  let ltb x y =
     match compare x y with
-    | Gt -> false
-    | _ -> true
-
-  (** val eqb : z -> z -> bool **)
-
-  let eqb x y =
-    match x with
-    | Z0 -> (match y with
-             | Z0 -> true
-             | _ -> false)
-    | Zpos p -> (match y with
-                 | Zpos q -> Coq_Pos.eqb p q
-                 | _ -> false)
-    | Zneg p -> (match y with
-                 | Zneg q -> Coq_Pos.eqb p q
-                 | _ -> false)
-
-  (** val of_N : n -> z **)
-
-  let of_N = function
-  | N0 -> Z0
-  | Npos p -> Zpos p
+    | Lt -> true
+    | _ -> false
  end
 
-type ascii =
-| Ascii of bool * bool * bool * bool * bool * bool * bool * bool
-
-(** val eqb0 : ascii -> ascii -> bool **)
-
-let eqb0 a b =
-  let Ascii (a0, a1, a2, a3, a4, a5, a6, a7) = a in
-  let Ascii (b0, b1, b2, b3, b4, b5, b6, b7) = b in
-  if if if if if if if eqb a0 b0 then eqb a1 b1 else false
-                 then eqb a2 b2
-                 else false
-              then eqb a3 b3
-              else false
-           then eqb a4 b4
-           else false
-        then eqb a5 b5
-        else false
-     then eqb a6 b6
-     else false
-  then eqb a7 b7
-  else false
-
-type string =
-| EmptyString
-| String of ascii * string
-
-(** val eqb1 : string -> string -> bool **)
-
-let rec eqb1 s1 s2 =
-  match s1 with
-  | EmptyString ->
-    (match s2 with
-     | EmptyString -> true
-     | String (_, _) -> false)
-  | String (c1, s1') ->
-    (match s2 with
-     | EmptyString -> false
-     | String (c2, s2') -> if eqb0 c1 c2 then eqb1 s1' s2' else false)
-
 type bytes = n list
-
-(** val sp : n **)
-
-let sp =
-  Npos (XO (XO (XO (XO (XO XH)))))
-
-(** val zero : n **)
-
-let zero =
-  Npos (XO (XO (XO (XO (XI XH)))))
 
 (** val bytes_eqb : bytes -> bytes -> bool **)
 
@@ -676,30820 +357,240 @@ let rec bytes_eqb a b =
      | [] -> false
      | y :: b' -> (&&) (N.eqb x y) (bytes_eqb a' b'))
 
-(** val rune_error : n **)
+type entry = { e_trace : bytes; e_core : bytes; e_amount : z; e_debit : 
+               bool; e_addenda : n; e_cat : n }
 
-let rune_error =
-  Npos (XI (XO (XI (XI (XI (XI (XI (XI (XI (XI (XI (XI (XI (XI (XI
-    XH)))))))))))))))
+type kind =
+| KStd
+| KIAT
 
-(** val cont : n -> bool **)
+(** val kind_eqb : kind -> kind -> bool **)
 
-let cont b =
-  (&&) (N.leb (Npos (XO (XO (XO (XO (XO (XO (XO XH)))))))) b)
-    (N.leb b (Npos (XI (XI (XI (XI (XI (XI (XO XH)))))))))
+let kind_eqb a b =
+  match a with
+  | KStd -> (match b with
+             | KStd -> true
+             | KIAT -> false)
+  | KIAT -> (match b with
+             | KStd -> false
+             | KIAT -> true)
 
-(** val seq_size : n -> nat **)
+type batch = { b_kind : kind; b_sig : bytes; b_num : z;
+               b_entries : entry list; b_adv : entry list }
 
-let seq_size b0 =
-  if N.ltb b0 (Npos (XO (XI (XO (XO (XO (XO (XI XH))))))))
-  then O
-  else if N.leb b0 (Npos (XI (XI (XI (XI (XI (XO (XI XH))))))))
-       then S (S O)
-       else if N.leb b0 (Npos (XI (XI (XI (XI (XO (XI (XI XH))))))))
-            then S (S (S O))
-            else if N.leb b0 (Npos (XO (XO (XI (XO (XI (XI (XI XH))))))))
-                 then S (S (S (S O)))
-                 else O
+(** val lex_ltb : bytes -> bytes -> bool **)
 
-(** val second_ok : n -> n -> bool **)
+let rec lex_ltb a b =
+  match a with
+  | [] -> (match b with
+           | [] -> false
+           | _ :: _ -> true)
+  | x :: a' ->
+    (match b with
+     | [] -> false
+     | y :: b' -> (||) (N.ltb x y) ((&&) (N.eqb x y) (lex_ltb a' b')))
 
-let second_ok b0 b1 =
-  if N.eqb b0 (Npos (XO (XO (XO (XO (XO (XI (XI XH))))))))
-  then (&&) (N.leb (Npos (XO (XO (XO (XO (XO (XI (XO XH)))))))) b1)
-         (N.leb b1 (Npos (XI (XI (XI (XI (XI (XI (XO XH)))))))))
-  else if N.eqb b0 (Npos (XI (XO (XI (XI (XO (XI (XI XH))))))))
-       then (&&) (N.leb (Npos (XO (XO (XO (XO (XO (XO (XO XH)))))))) b1)
-              (N.leb b1 (Npos (XI (XI (XI (XI (XI (XO (XO XH)))))))))
-       else if N.eqb b0 (Npos (XO (XO (XO (XO (XI (XI (XI XH))))))))
-            then (&&) (N.leb (Npos (XO (XO (XO (XO (XI (XO (XO XH)))))))) b1)
-                   (N.leb b1 (Npos (XI (XI (XI (XI (XI (XI (XO XH)))))))))
-            else if N.eqb b0 (Npos (XO (XO (XI (XO (XI (XI (XI XH))))))))
-                 then (&&)
-                        (N.leb (Npos (XO (XO (XO (XO (XO (XO (XO XH))))))))
-                          b1)
-                        (N.leb b1 (Npos (XI (XI (XI (XI (XO (XO (XO
-                          XH)))))))))
-                 else cont b1
+(** val insert_by : ('a1 -> 'a1 -> bool) -> 'a1 -> 'a1 list -> 'a1 list **)
 
-(** val chunks : bytes -> (n * bytes) list **)
+let rec insert_by lt x = function
+| [] -> x :: []
+| y :: l' -> if lt y x then y :: (insert_by lt x l') else x :: (y :: l')
 
-let rec chunks = function
+(** val sort_by : ('a1 -> 'a1 -> bool) -> 'a1 list -> 'a1 list **)
+
+let rec sort_by lt = function
 | [] -> []
-| b0 :: t ->
-  if N.ltb b0 (Npos (XO (XO (XO (XO (XO (XO (XO XH))))))))
-  then (b0, (b0 :: [])) :: (chunks t)
-  else (match seq_size b0 with
-        | O -> (rune_error, (b0 :: [])) :: (chunks t)
-        | S n0 ->
-          (match n0 with
-           | O -> (rune_error, (b0 :: [])) :: (chunks t)
-           | S n1 ->
-             (match n1 with
-              | O ->
-                (match t with
-                 | [] -> (rune_error, (b0 :: [])) :: (chunks t)
-                 | b1 :: t1 ->
-                   if second_ok b0 b1
-                   then ((N.add
-                           (N.mul
-                             (N.sub b0 (Npos (XO (XO (XO (XO (XO (XO (XI
-                               XH))))))))) (Npos (XO (XO (XO (XO (XO (XO
-                             XH))))))))
-                           (N.sub b1 (Npos (XO (XO (XO (XO (XO (XO (XO
-                             XH)))))))))), (b0 :: (b1 :: []))) :: (chunks t1)
-                   else (rune_error, (b0 :: [])) :: (chunks t))
-              | S n2 ->
-                (match n2 with
-                 | O ->
-                   (match t with
-                    | [] -> (rune_error, (b0 :: [])) :: (chunks t)
-                    | b1 :: l0 ->
-                      (match l0 with
-                       | [] -> (rune_error, (b0 :: [])) :: (chunks t)
-                       | b2 :: t2 ->
-                         if (&&) (second_ok b0 b1) (cont b2)
-                         then ((N.add
-                                 (N.add
-                                   (N.mul
-                                     (N.sub b0 (Npos (XO (XO (XO (XO (XO (XI
-                                       (XI XH))))))))) (Npos (XO (XO (XO (XO
-                                     (XO (XO (XO (XO (XO (XO (XO (XO
-                                     XH))))))))))))))
-                                   (N.mul
-                                     (N.sub b1 (Npos (XO (XO (XO (XO (XO (XO
-                                       (XO XH))))))))) (Npos (XO (XO (XO (XO
-                                     (XO (XO XH)))))))))
-                                 (N.sub b2 (Npos (XO (XO (XO (XO (XO (XO (XO
-                                   XH)))))))))),
-                                (b0 :: (b1 :: (b2 :: [])))) :: (chunks t2)
-                         else (rune_error, (b0 :: [])) :: (chunks t)))
-                 | S n3 ->
-                   (match n3 with
-                    | O ->
-                      (match t with
-                       | [] -> (rune_error, (b0 :: [])) :: (chunks t)
-                       | b1 :: l0 ->
-                         (match l0 with
-                          | [] -> (rune_error, (b0 :: [])) :: (chunks t)
-                          | b2 :: l1 ->
-                            (match l1 with
-                             | [] -> (rune_error, (b0 :: [])) :: (chunks t)
-                             | b3 :: t3 ->
-                               if (&&) ((&&) (second_ok b0 b1) (cont b2))
-                                    (cont b3)
-                               then ((N.add
-                                       (N.add
-                                         (N.add
-                                           (N.mul
-                                             (N.sub b0 (Npos (XO (XO (XO (XO
-                                               (XI (XI (XI XH))))))))) (Npos
-                                             (XO (XO (XO (XO (XO (XO (XO (XO
-                                             (XO (XO (XO (XO (XO (XO (XO (XO
-                                             (XO (XO XH))))))))))))))))))))
-                                           (N.mul
-                                             (N.sub b1 (Npos (XO (XO (XO (XO
-                                               (XO (XO (XO XH))))))))) (Npos
-                                             (XO (XO (XO (XO (XO (XO (XO (XO
-                                             (XO (XO (XO (XO XH)))))))))))))))
-                                         (N.mul
-                                           (N.sub b2 (Npos (XO (XO (XO (XO
-                                             (XO (XO (XO XH))))))))) (Npos
-                                           (XO (XO (XO (XO (XO (XO XH)))))))))
-                                       (N.sub b3 (Npos (XO (XO (XO (XO (XO
-                                         (XO (XO XH)))))))))),
-                                      (b0 :: (b1 :: (b2 :: (b3 :: []))))) :: 
-                                      (chunks t3)
-                               else (rune_error, (b0 :: [])) :: (chunks t))))
-                    | S _ -> (rune_error, (b0 :: [])) :: (chunks t))))))
+| x :: l' -> insert_by lt x (sort_by lt l')
 
-(** val runes : bytes -> n list **)
+(** val has_trace : bytes -> batch -> bool **)
 
-let runes l =
-  map fst (chunks l)
+let has_trace t b =
+  existsb (fun e -> bytes_eqb t e.e_trace) b.b_entries
 
-(** val rune_count : bytes -> nat **)
+(** val can_merge : batch -> batch -> bool **)
 
-let rune_count l =
-  length (chunks l)
+let can_merge a b =
+  (&&) (forallb (fun e -> negb (has_trace e.e_trace b)) a.b_entries)
+    (bytes_eqb a.b_sig b.b_sig)
 
-(** val encode_rune : n -> bytes **)
+(** val consume : batch -> batch -> batch **)
 
-let encode_rune r =
-  if N.ltb r (Npos (XO (XO (XO (XO (XO (XO (XO XH))))))))
-  then r :: []
-  else if N.ltb r (Npos (XO (XO (XO (XO (XO (XO (XO (XO (XO (XO (XO
-            XH))))))))))))
-       then (N.add (Npos (XO (XO (XO (XO (XO (XO (XI XH))))))))
-              (N.div r (Npos (XO (XO (XO (XO (XO (XO XH))))))))) :: (
-              (N.add (Npos (XO (XO (XO (XO (XO (XO (XO XH))))))))
-                (N.modulo r (Npos (XO (XO (XO (XO (XO (XO XH))))))))) :: [])
-       else if (&&)
-                 (N.leb (Npos (XO (XO (XO (XO (XO (XO (XO (XO (XO (XO (XO (XI
-                   (XI (XO (XI XH)))))))))))))))) r)
-                 (N.leb r (Npos (XI (XI (XI (XI (XI (XI (XI (XI (XI (XI (XI
-                   (XI (XI (XO (XI XH)))))))))))))))))
-            then (Npos (XI (XI (XI (XI (XO (XI (XI XH)))))))) :: ((Npos (XI
-                   (XI (XI (XI (XI (XI (XO XH)))))))) :: ((Npos (XI (XO (XI
-                   (XI (XI (XI (XO XH)))))))) :: []))
-            else if N.ltb r (Npos (XO (XO (XO (XO (XO (XO (XO (XO (XO (XO (XO
-                      (XO (XO (XO (XO (XO XH)))))))))))))))))
-                 then (N.add (Npos (XO (XO (XO (XO (XO (XI (XI XH))))))))
-                        (N.div r (Npos (XO (XO (XO (XO (XO (XO (XO (XO (XO
-                          (XO (XO (XO XH))))))))))))))) :: ((N.add (Npos (XO
-                                                              (XO (XO (XO (XO
-                                                              (XO (XO
-                                                              XH))))))))
-                                                              (N.modulo
-                                                                (N.div r
-                                                                  (Npos (XO
-                                                                  (XO (XO (XO
-                                                                  (XO (XO
-                                                                  XH))))))))
-                                                                (Npos (XO (XO
-                                                                (XO (XO (XO
-                                                                (XO XH))))))))) :: (
-                        (N.add (Npos (XO (XO (XO (XO (XO (XO (XO XH))))))))
-                          (N.modulo r (Npos (XO (XO (XO (XO (XO (XO XH))))))))) :: []))
-                 else if N.ltb r (Npos (XO (XO (XO (XO (XO (XO (XO (XO (XO
-                           (XO (XO (XO (XO (XO (XO (XO (XI (XO (XO (XO
-                           XH)))))))))))))))))))))
-                      then (N.add (Npos (XO (XO (XO (XO (XI (XI (XI
-                             XH))))))))
-                             (N.div r (Npos (XO (XO (XO (XO (XO (XO (XO (XO
-                               (XO (XO (XO (XO (XO (XO (XO (XO (XO (XO
-                               XH))))))))))))))))))))) :: ((N.add (Npos (XO
-                                                             (XO (XO (XO (XO
-                                                             (XO (XO
-                                                             XH))))))))
-                                                             (N.modulo
-                                                               (N.div r (Npos
-                                                                 (XO (XO (XO
-                                                                 (XO (XO (XO
-                                                                 (XO (XO (XO
-                                                                 (XO (XO (XO
-                                                                 XH))))))))))))))
-                                                               (Npos (XO (XO
-                                                               (XO (XO (XO
-                                                               (XO XH))))))))) :: (
-                             (N.add (Npos (XO (XO (XO (XO (XO (XO (XO
-                               XH))))))))
-                               (N.modulo
-                                 (N.div r (Npos (XO (XO (XO (XO (XO (XO
-                                   XH)))))))) (Npos (XO (XO (XO (XO (XO (XO
-                                 XH))))))))) :: ((N.add (Npos (XO (XO (XO (XO
-                                                   (XO (XO (XO XH))))))))
-                                                   (N.modulo r (Npos (XO (XO
-                                                     (XO (XO (XO (XO
-                                                     XH))))))))) :: [])))
-                      else (Npos (XI (XI (XI (XI (XO (XI (XI
-                             XH)))))))) :: ((Npos (XI (XI (XI (XI (XI (XI (XO
-                             XH)))))))) :: ((Npos (XI (XO (XI (XI (XI (XI (XO
-                             XH)))))))) :: []))
+let consume m c =
+  if kind_eqb m.b_kind c.b_kind
+  then { b_kind = m.b_kind; b_sig = m.b_sig; b_num =
+         (if Z.ltb c.b_num m.b_num then c.b_num else m.b_num); b_entries =
+         (app m.b_entries c.b_entries); b_adv = (app m.b_adv c.b_adv) }
+  else m
 
-(** val encode : n list -> bytes **)
+(** val copy : batch -> batch **)
 
-let encode rs =
-  flat_map encode_rune rs
+let copy b =
+  consume { b_kind = b.b_kind; b_sig = b.b_sig; b_num = b.b_num; b_entries =
+    []; b_adv = [] } b
 
-type seg =
-| SLit of bytes
-| SAlpha of string * nat
-| SNum of string * nat
-| SStr of string * nat
-| SRaw of string
-| SItoa of string
-| SCustom of string * string
-| SUnknown of string
+type groups = (bytes * batch list) list
 
-type cut = { c_lo : nat; c_hi : nat; c_field : string; c_conv : string list;
-             c_const : bytes option }
+(** val merge_into : batch -> batch list -> batch list option **)
 
-(** val mkcut : nat -> nat -> string -> string list -> cut **)
+let rec merge_into b = function
+| [] -> None
+| m :: g' ->
+  if can_merge b m
+  then Some ((consume m b) :: g')
+  else (match merge_into b g' with
+        | Some g'' -> Some (m :: g'')
+        | None -> None)
 
-let mkcut lo hi f conv =
-  { c_lo = lo; c_hi = hi; c_field = f; c_conv = conv; c_const = None }
+(** val place : batch -> batch list -> batch list **)
 
-(** val mkconst : string -> bytes -> cut **)
+let place b g =
+  match merge_into b g with
+  | Some g' -> g'
+  | None -> app g ((copy b) :: [])
 
-let mkconst f bs =
-  { c_lo = O; c_hi = O; c_field = f; c_conv = []; c_const = (Some bs) }
+(** val step : batch -> groups -> groups **)
 
-type indexing =
-| IRune
-| IByte
+let rec step b = function
+| [] -> (b.b_sig, (place b [])) :: []
+| p :: gs' ->
+  let (s, g) = p in
+  if bytes_eqb s b.b_sig
+  then (s, (place b g)) :: gs'
+  else (s, g) :: (step b gs')
 
-type layout = { l_name : string; l_ix : indexing; l_segs : seg list;
-                l_cuts : cut list }
+(** val run : batch list -> groups **)
 
-type value =
-| VS of bytes
-| VI of z
+let run order =
+  fold_left (fun gs b -> step b gs) order []
 
-type recval = (string * value) list
+(** val all_batches : groups -> batch list **)
 
-(** val lookup : recval -> string -> value option **)
+let all_batches gs =
+  concat (map snd gs)
 
-let rec lookup r f =
-  match r with
-  | [] -> None
-  | p :: r' -> let (g, v) = p in if eqb1 f g then Some v else lookup r' f
+(** val trace_ltb : entry -> entry -> bool **)
 
-(** val gets : recval -> string -> bytes **)
+let trace_ltb a b =
+  lex_ltb a.e_trace b.e_trace
 
-let gets r f =
-  match lookup r f with
-  | Some v -> (match v with
-               | VS s -> s
-               | VI _ -> [])
-  | None -> []
+(** val num_ltb : batch -> batch -> bool **)
 
-(** val geti : recval -> string -> z **)
+let num_ltb a b =
+  Z.ltb a.b_num b.b_num
 
-let geti r f =
-  match lookup r f with
-  | Some v -> (match v with
-               | VS _ -> Z0
-               | VI z0 -> z0)
-  | None -> Z0
+(** val count_ltb : batch -> batch -> bool **)
 
-(** val spaces : nat -> bytes **)
+let count_ltb a b =
+  Nat.ltb (length a.b_entries) (length b.b_entries)
 
-let spaces n0 =
-  repeat sp n0
+(** val sort_entries : batch -> batch **)
 
-(** val zeros : nat -> bytes **)
+let sort_entries b =
+  { b_kind = b.b_kind; b_sig = b.b_sig; b_num = b.b_num; b_entries =
+    (sort_by trace_ltb b.b_entries); b_adv = b.b_adv }
 
-let zeros n0 =
-  repeat zero n0
+(** val is_std : batch -> bool **)
 
-(** val is_space : n -> bool **)
+let is_std b =
+  match b.b_kind with
+  | KStd -> true
+  | KIAT -> false
 
-let is_space r =
-  (||)
-    ((||)
-      ((||)
-        ((||)
-          ((||)
-            ((||)
-              ((||)
-                ((||)
-                  ((||)
-                    ((||)
-                      ((&&) (N.leb (Npos (XI (XO (XO XH)))) r)
-                        (N.leb r (Npos (XI (XO (XI XH))))))
-                      (N.eqb r (Npos (XO (XO (XO (XO (XO XH))))))))
-                    (N.eqb r (Npos (XI (XO (XI (XO (XO (XO (XO XH))))))))))
-                  (N.eqb r (Npos (XO (XO (XO (XO (XO (XI (XO XH))))))))))
-                (N.eqb r (Npos (XO (XO (XO (XO (XO (XO (XO (XI (XO (XI (XI
-                  (XO XH)))))))))))))))
-              ((&&)
-                (N.leb (Npos (XO (XO (XO (XO (XO (XO (XO (XO (XO (XO (XO (XO
-                  (XO XH)))))))))))))) r)
-                (N.leb r (Npos (XO (XI (XO (XI (XO (XO (XO (XO (XO (XO (XO
-                  (XO (XO XH)))))))))))))))))
-            (N.eqb r (Npos (XO (XO (XO (XI (XO (XI (XO (XO (XO (XO (XO (XO
-              (XO XH))))))))))))))))
-          (N.eqb r (Npos (XI (XO (XO (XI (XO (XI (XO (XO (XO (XO (XO (XO (XO
-            XH))))))))))))))))
-        (N.eqb r (Npos (XI (XI (XI (XI (XO (XI (XO (XO (XO (XO (XO (XO (XO
-          XH))))))))))))))))
-      (N.eqb r (Npos (XI (XI (XI (XI (XI (XO (XI (XO (XO (XO (XO (XO (XO
-        XH))))))))))))))))
-    (N.eqb r (Npos (XO (XO (XO (XO (XO (XO (XO (XO (XO (XO (XO (XO (XI
-      XH)))))))))))))))
+(** val is_iat : batch -> bool **)
 
-(** val drop_space : (n * bytes) list -> (n * bytes) list **)
+let is_iat b =
+  negb (is_std b)
 
-let rec drop_space cs = match cs with
+(** val renumber : z -> batch list -> batch list **)
+
+let rec renumber n0 = function
 | [] -> []
-| p :: rest -> let (r, _) = p in if is_space r then drop_space rest else cs
+| b :: l' ->
+  { b_kind = b.b_kind; b_sig = b.b_sig; b_num = n0; b_entries = b.b_entries;
+    b_adv = b.b_adv } :: (renumber (Z.add n0 (Zpos XH)) l')
 
-(** val trim : bytes -> bytes **)
+(** val finalize : batch list -> batch list **)
 
-let trim s =
-  concat (map snd (rev (drop_space (rev (drop_space (chunks s))))))
+let finalize all =
+  let s = map sort_entries (sort_by num_ltb all) in
+  renumber (Zpos XH) (app (filter is_std s) (filter is_iat s))
 
-(** val rune_prefix : nat -> bytes -> bytes **)
+(** val cat_noc : n **)
 
-let rune_prefix w s =
-  encode (firstn w (runes s))
+let cat_noc =
+  Npos (XO XH)
 
-(** val alphaField : bytes -> nat -> bytes **)
+(** val category_ok : batch -> bool **)
 
-let alphaField s w =
-  let n0 = rune_count s in
-  if Nat.ltb w n0 then rune_prefix w s else app s (spaces (sub w n0))
+let category_ok b =
+  match b.b_entries with
+  | [] ->
+    (match b.b_adv with
+     | [] -> true
+     | a0 :: _ -> forallb (fun a -> N.eqb a.e_cat a0.e_cat) b.b_adv)
+  | e0 :: l ->
+    (match l with
+     | [] -> true
+     | _ :: _ ->
+       forallb (fun e ->
+         (||) (N.eqb e.e_cat cat_noc) (N.eqb e.e_cat e0.e_cat)) b.b_entries)
 
-(** val stringField : bytes -> nat -> bytes **)
+(** val checked : batch list -> batch list option **)
 
-let stringField s w =
-  let n0 = rune_count s in
-  if Nat.ltb w n0 then rune_prefix w s else app (zeros (sub w n0)) s
+let checked out =
+  if forallb category_ok out then Some out else None
 
-(** val digits_fuel : nat -> n -> bytes -> bytes **)
+(** val flatten_stable : batch list -> batch list **)
 
-let rec digits_fuel fuel n0 acc =
-  match fuel with
-  | O -> acc
-  | S k ->
-    if N.ltb n0 (Npos (XO (XI (XO XH))))
-    then (N.add (Npos (XO (XO (XO (XO (XI XH)))))) n0) :: acc
-    else digits_fuel k (N.div n0 (Npos (XO (XI (XO XH)))))
-           ((N.add (Npos (XO (XO (XO (XO (XI XH))))))
-              (N.modulo n0 (Npos (XO (XI (XO XH)))))) :: acc)
+let flatten_stable inp =
+  finalize (all_batches (run (sort_by count_ltb inp)))
 
-(** val digits : n -> bytes **)
+(** val sorted_countb : batch list -> bool **)
 
-let digits n0 =
-  digits_fuel (S (N.to_nat (N.log2 n0))) n0 []
+let rec sorted_countb = function
+| [] -> true
+| a :: l' ->
+  (match l' with
+   | [] -> true
+   | b :: _ -> (&&) (negb (count_ltb b a)) (sorted_countb l'))
 
-(** val itoa : z -> bytes **)
+(** val nodupb : nat list -> bool **)
 
-let itoa = function
-| Z0 -> (Npos (XO (XO (XO (XO (XI XH)))))) :: []
-| Zpos p -> digits (Npos p)
-| Zneg p -> (Npos (XI (XO (XI (XI (XO XH)))))) :: (digits (Npos p))
+let rec nodupb = function
+| [] -> true
+| x :: l' -> (&&) (negb (existsb (Nat.eqb x) l')) (nodupb l')
 
-(** val numericField : z -> nat -> bytes **)
+(** val perm_hintb : nat -> nat list -> bool **)
 
-let numericField z0 w =
-  let s = itoa z0 in
-  let l = length s in
-  if Nat.ltb w l then skipn (sub l w) s else app (zeros (sub w l)) s
+let perm_hintb n0 hint =
+  (&&)
+    ((&&) (Nat.eqb (length hint) n0) (forallb (fun i -> Nat.ltb i n0) hint))
+    (nodupb hint)
 
-(** val is_digit : n -> bool **)
+(** val dummy_batch : batch **)
 
-let is_digit b =
-  (&&) (N.leb (Npos (XO (XO (XO (XO (XI XH)))))) b)
-    (N.leb b (Npos (XI (XO (XO (XI (XI XH)))))))
+let dummy_batch =
+  { b_kind = KStd; b_sig = []; b_num = Z0; b_entries = []; b_adv = [] }
 
-(** val digits_val : bytes -> z -> z **)
+(** val apply_hint : batch list -> nat list -> batch list **)
 
-let rec digits_val s acc =
-  match s with
-  | [] -> acc
-  | b :: t ->
-    digits_val t
-      (Z.add (Z.mul acc (Zpos (XO (XI (XO XH)))))
-        (Z.of_N (N.sub b (Npos (XO (XO (XO (XO (XI XH)))))))))
+let apply_hint inp hint =
+  map (fun i -> nth i inp dummy_batch) hint
 
-(** val max_int64 : z **)
+(** val flatten_hint : batch list -> nat list -> batch list option **)
 
-let max_int64 =
-  Zpos (XI (XI (XI (XI (XI (XI (XI (XI (XI (XI (XI (XI (XI (XI (XI (XI (XI
-    (XI (XI (XI (XI (XI (XI (XI (XI (XI (XI (XI (XI (XI (XI (XI (XI (XI (XI
-    (XI (XI (XI (XI (XI (XI (XI (XI (XI (XI (XI (XI (XI (XI (XI (XI (XI (XI
-    (XI (XI (XI (XI (XI (XI (XI (XI (XI
-    XH))))))))))))))))))))))))))))))))))))))))))))))))))))))))))))))
+let flatten_hint inp hint =
+  if (&&) (perm_hintb (length inp) hint) (sorted_countb (apply_hint inp hint))
+  then Some (finalize (all_batches (run (apply_hint inp hint))))
+  else None
 
-(** val min_int64 : z **)
+(** val flatten_stable_checked : batch list -> batch list option **)
 
-let min_int64 =
-  Zneg (XO (XO (XO (XO (XO (XO (XO (XO (XO (XO (XO (XO (XO (XO (XO (XO (XO
-    (XO (XO (XO (XO (XO (XO (XO (XO (XO (XO (XO (XO (XO (XO (XO (XO (XO (XO
-    (XO (XO (XO (XO (XO (XO (XO (XO (XO (XO (XO (XO (XO (XO (XO (XO (XO (XO
-    (XO (XO (XO (XO (XO (XO (XO (XO (XO (XO
-    XH)))))))))))))))))))))))))))))))))))))))))))))))))))))))))))))))
+let flatten_stable_checked inp =
+  checked (flatten_stable inp)
 
-(** val atoi : bytes -> z **)
+(** val flatten_hint_checked :
+    batch list -> nat list -> batch list option option **)
 
-let atoi s = match s with
-| [] ->
-  let neg = false in
-  (match s with
-   | [] -> Z0
-   | _ :: _ ->
-     if forallb is_digit s
-     then let v = digits_val s Z0 in
-          if neg
-          then if Z.leb min_int64 (Z.opp v) then Z.opp v else min_int64
-          else if Z.leb v max_int64 then v else max_int64
-     else Z0)
-| n0 :: t ->
-  (match n0 with
-   | N0 ->
-     let neg = false in
-     (match s with
-      | [] -> Z0
-      | _ :: _ ->
-        if forallb is_digit s
-        then let v = digits_val s Z0 in
-             if neg
-             then if Z.leb min_int64 (Z.opp v) then Z.opp v else min_int64
-             else if Z.leb v max_int64 then v else max_int64
-        else Z0)
-   | Npos p ->
-     (match p with
-      | XI p0 ->
-        (match p0 with
-         | XI p1 ->
-           (match p1 with
-            | XO p2 ->
-              (match p2 with
-               | XI p3 ->
-                 (match p3 with
-                  | XO p4 ->
-                    (match p4 with
-                     | XH ->
-                       let neg = false in
-                       (match t with
-                        | [] -> Z0
-                        | _ :: _ ->
-                          if forallb is_digit t
-                          then let v = digits_val t Z0 in
-                               if neg
-                               then if Z.leb min_int64 (Z.opp v)
-                                    then Z.opp v
-                                    else min_int64
-                               else if Z.leb v max_int64 then v else max_int64
-                          else Z0)
-                     | _ ->
-                       let neg = false in
-                       (match s with
-                        | [] -> Z0
-                        | _ :: _ ->
-                          if forallb is_digit s
-                          then let v = digits_val s Z0 in
-                               if neg
-                               then if Z.leb min_int64 (Z.opp v)
-                                    then Z.opp v
-                                    else min_int64
-                               else if Z.leb v max_int64 then v else max_int64
-                          else Z0))
-                  | _ ->
-                    let neg = false in
-                    (match s with
-                     | [] -> Z0
-                     | _ :: _ ->
-                       if forallb is_digit s
-                       then let v = digits_val s Z0 in
-                            if neg
-                            then if Z.leb min_int64 (Z.opp v)
-                                 then Z.opp v
-                                 else min_int64
-                            else if Z.leb v max_int64 then v else max_int64
-                       else Z0))
-               | _ ->
-                 let neg = false in
-                 (match s with
-                  | [] -> Z0
-                  | _ :: _ ->
-                    if forallb is_digit s
-                    then let v = digits_val s Z0 in
-                         if neg
-                         then if Z.leb min_int64 (Z.opp v)
-                              then Z.opp v
-                              else min_int64
-                         else if Z.leb v max_int64 then v else max_int64
-                    else Z0))
-            | _ ->
-              let neg = false in
-              (match s with
-               | [] -> Z0
-               | _ :: _ ->
-                 if forallb is_digit s
-                 then let v = digits_val s Z0 in
-                      if neg
-                      then if Z.leb min_int64 (Z.opp v)
-                           then Z.opp v
-                           else min_int64
-                      else if Z.leb v max_int64 then v else max_int64
-                 else Z0))
-         | XO p1 ->
-           (match p1 with
-            | XI p2 ->
-              (match p2 with
-               | XI p3 ->
-                 (match p3 with
-                  | XO p4 ->
-                    (match p4 with
-                     | XH ->
-                       let neg = true in
-                       (match t with
-                        | [] -> Z0
-                        | _ :: _ ->
-                          if forallb is_digit t
-                          then let v = digits_val t Z0 in
-                               if neg
-                               then if Z.leb min_int64 (Z.opp v)
-                                    then Z.opp v
-                                    else min_int64
-                               else if Z.leb v max_int64 then v else max_int64
-                          else Z0)
-                     | _ ->
-                       let neg = false in
-                       (match s with
-                        | [] -> Z0
-                        | _ :: _ ->
-                          if forallb is_digit s
-                          then let v = digits_val s Z0 in
-                               if neg
-                               then if Z.leb min_int64 (Z.opp v)
-                                    then Z.opp v
-                                    else min_int64
-                               else if Z.leb v max_int64 then v else max_int64
-                          else Z0))
-                  | _ ->
-                    let neg = false in
-                    (match s with
-                     | [] -> Z0
-                     | _ :: _ ->
-                       if forallb is_digit s
-                       then let v = digits_val s Z0 in
-                            if neg
-                            then if Z.leb min_int64 (Z.opp v)
-                                 then Z.opp v
-                                 else min_int64
-                            else if Z.leb v max_int64 then v else max_int64
-                       else Z0))
-               | _ ->
-                 let neg = false in
-                 (match s with
-                  | [] -> Z0
-                  | _ :: _ ->
-                    if forallb is_digit s
-                    then let v = digits_val s Z0 in
-                         if neg
-                         then if Z.leb min_int64 (Z.opp v)
-                              then Z.opp v
-                              else min_int64
-                         else if Z.leb v max_int64 then v else max_int64
-                    else Z0))
-            | _ ->
-              let neg = false in
-              (match s with
-               | [] -> Z0
-               | _ :: _ ->
-                 if forallb is_digit s
-                 then let v = digits_val s Z0 in
-                      if neg
-                      then if Z.leb min_int64 (Z.opp v)
-                           then Z.opp v
-                           else min_int64
-                      else if Z.leb v max_int64 then v else max_int64
-                 else Z0))
-         | XH ->
-           let neg = false in
-           (match s with
-            | [] -> Z0
-            | _ :: _ ->
-              if forallb is_digit s
-              then let v = digits_val s Z0 in
-                   if neg
-                   then if Z.leb min_int64 (Z.opp v)
-                        then Z.opp v
-                        else min_int64
-                   else if Z.leb v max_int64 then v else max_int64
-              else Z0))
-      | _ ->
-        let neg = false in
-        (match s with
-         | [] -> Z0
-         | _ :: _ ->
-           if forallb is_digit s
-           then let v = digits_val s Z0 in
-                if neg
-                then if Z.leb min_int64 (Z.opp v) then Z.opp v else min_int64
-                else if Z.leb v max_int64 then v else max_int64
-           else Z0)))
-
-(** val atoi_opt : bytes -> z option **)
-
-let atoi_opt s = match s with
-| [] ->
-  let neg = false in
-  (match s with
-   | [] -> None
-   | _ :: _ ->
-     if forallb is_digit s
-     then let v = digits_val s Z0 in
-          if neg
-          then if Z.leb min_int64 (Z.opp v) then Some (Z.opp v) else None
-          else if Z.leb v max_int64 then Some v else None
-     else None)
-| n0 :: t ->
-  (match n0 with
-   | N0 ->
-     let neg = false in
-     (match s with
-      | [] -> None
-      | _ :: _ ->
-        if forallb is_digit s
-        then let v = digits_val s Z0 in
-             if neg
-             then if Z.leb min_int64 (Z.opp v) then Some (Z.opp v) else None
-             else if Z.leb v max_int64 then Some v else None
-        else None)
-   | Npos p ->
-     (match p with
-      | XI p0 ->
-        (match p0 with
-         | XI p1 ->
-           (match p1 with
-            | XO p2 ->
-              (match p2 with
-               | XI p3 ->
-                 (match p3 with
-                  | XO p4 ->
-                    (match p4 with
-                     | XH ->
-                       let neg = false in
-                       (match t with
-                        | [] -> None
-                        | _ :: _ ->
-                          if forallb is_digit t
-                          then let v = digits_val t Z0 in
-                               if neg
-                               then if Z.leb min_int64 (Z.opp v)
-                                    then Some (Z.opp v)
-                                    else None
-                               else if Z.leb v max_int64 then Some v else None
-                          else None)
-                     | _ ->
-                       let neg = false in
-                       (match s with
-                        | [] -> None
-                        | _ :: _ ->
-                          if forallb is_digit s
-                          then let v = digits_val s Z0 in
-                               if neg
-                               then if Z.leb min_int64 (Z.opp v)
-                                    then Some (Z.opp v)
-                                    else None
-                               else if Z.leb v max_int64 then Some v else None
-                          else None))
-                  | _ ->
-                    let neg = false in
-                    (match s with
-                     | [] -> None
-                     | _ :: _ ->
-                       if forallb is_digit s
-                       then let v = digits_val s Z0 in
-                            if neg
-                            then if Z.leb min_int64 (Z.opp v)
-                                 then Some (Z.opp v)
-                                 else None
-                            else if Z.leb v max_int64 then Some v else None
-                       else None))
-               | _ ->
-                 let neg = false in
-                 (match s with
-                  | [] -> None
-                  | _ :: _ ->
-                    if forallb is_digit s
-                    then let v = digits_val s Z0 in
-                         if neg
-                         then if Z.leb min_int64 (Z.opp v)
-                              then Some (Z.opp v)
-                              else None
-                         else if Z.leb v max_int64 then Some v else None
-                    else None))
-            | _ ->
-              let neg = false in
-              (match s with
-               | [] -> None
-               | _ :: _ ->
-                 if forallb is_digit s
-                 then let v = digits_val s Z0 in
-                      if neg
-                      then if Z.leb min_int64 (Z.opp v)
-                           then Some (Z.opp v)
-                           else None
-                      else if Z.leb v max_int64 then Some v else None
-                 else None))
-         | XO p1 ->
-           (match p1 with
-            | XI p2 ->
-              (match p2 with
-               | XI p3 ->
-                 (match p3 with
-                  | XO p4 ->
-                    (match p4 with
-                     | XH ->
-                       let neg = true in
-                       (match t with
-                        | [] -> None
-                        | _ :: _ ->
-                          if forallb is_digit t
-                          then let v = digits_val t Z0 in
-                               if neg
-                               then if Z.leb min_int64 (Z.opp v)
-                                    then Some (Z.opp v)
-                                    else None
-                               else if Z.leb v max_int64 then Some v else None
-                          else None)
-                     | _ ->
-                       let neg = false in
-                       (match s with
-                        | [] -> None
-                        | _ :: _ ->
-                          if forallb is_digit s
-                          then let v = digits_val s Z0 in
-                               if neg
-                               then if Z.leb min_int64 (Z.opp v)
-                                    then Some (Z.opp v)
-                                    else None
-                               else if Z.leb v max_int64 then Some v else None
-                          else None))
-                  | _ ->
-                    let neg = false in
-                    (match s with
-                     | [] -> None
-                     | _ :: _ ->
-                       if forallb is_digit s
-                       then let v = digits_val s Z0 in
-                            if neg
-                            then if Z.leb min_int64 (Z.opp v)
-                                 then Some (Z.opp v)
-                                 else None
-                            else if Z.leb v max_int64 then Some v else None
-                       else None))
-               | _ ->
-                 let neg = false in
-                 (match s with
-                  | [] -> None
-                  | _ :: _ ->
-                    if forallb is_digit s
-                    then let v = digits_val s Z0 in
-                         if neg
-                         then if Z.leb min_int64 (Z.opp v)
-                              then Some (Z.opp v)
-                              else None
-                         else if Z.leb v max_int64 then Some v else None
-                    else None))
-            | _ ->
-              let neg = false in
-              (match s with
-               | [] -> None
-               | _ :: _ ->
-                 if forallb is_digit s
-                 then let v = digits_val s Z0 in
-                      if neg
-                      then if Z.leb min_int64 (Z.opp v)
-                           then Some (Z.opp v)
-                           else None
-                      else if Z.leb v max_int64 then Some v else None
-                 else None))
-         | XH ->
-           let neg = false in
-           (match s with
-            | [] -> None
-            | _ :: _ ->
-              if forallb is_digit s
-              then let v = digits_val s Z0 in
-                   if neg
-                   then if Z.leb min_int64 (Z.opp v)
-                        then Some (Z.opp v)
-                        else None
-                   else if Z.leb v max_int64 then Some v else None
-              else None))
-      | _ ->
-        let neg = false in
-        (match s with
-         | [] -> None
-         | _ :: _ ->
-           if forallb is_digit s
-           then let v = digits_val s Z0 in
-                if neg
-                then if Z.leb min_int64 (Z.opp v)
-                     then Some (Z.opp v)
-                     else None
-                else if Z.leb v max_int64 then Some v else None
-           else None)))
-
-(** val parseNumField : bytes -> z **)
-
-let parseNumField s =
-  atoi (trim s)
-
-(** val aUTOENROLL : bytes **)
-
-let aUTOENROLL =
-  (Npos (XI (XO (XO (XO (XO (XO XH))))))) :: ((Npos (XI (XO (XI (XO (XI (XO
-    XH))))))) :: ((Npos (XO (XO (XI (XO (XI (XO XH))))))) :: ((Npos (XI (XI
-    (XI (XI (XO (XO XH))))))) :: ((Npos (XI (XO (XI (XO (XO (XO
-    XH))))))) :: ((Npos (XO (XI (XI (XI (XO (XO XH))))))) :: ((Npos (XO (XI
-    (XO (XO (XI (XO XH))))))) :: ((Npos (XI (XI (XI (XI (XO (XO
-    XH))))))) :: ((Npos (XO (XO (XI (XI (XO (XO XH))))))) :: ((Npos (XO (XO
-    (XI (XI (XO (XO XH))))))) :: [])))))))))
-
-(** val eNR : bytes **)
-
-let eNR =
-  (Npos (XI (XO (XI (XO (XO (XO XH))))))) :: ((Npos (XO (XI (XI (XI (XO (XO
-    XH))))))) :: ((Npos (XO (XI (XO (XO (XI (XO XH))))))) :: []))
-
-(** val render_custom : string -> recval -> bytes option **)
-
-let render_custom name r =
-  if eqb1 name (String ((Ascii (true, false, false, false, false, false,
-       true, false)), (String ((Ascii (false, false, true, false, false,
-       true, true, false)), (String ((Ascii (false, false, true, false,
-       false, true, true, false)), (String ((Ascii (true, false, true, false,
-       false, true, true, false)), (String ((Ascii (false, true, true, true,
-       false, true, true, false)), (String ((Ascii (false, false, true,
-       false, false, true, true, false)), (String ((Ascii (true, false,
-       false, false, false, true, true, false)), (String ((Ascii (true,
-       false, false, true, true, true, false, false)), (String ((Ascii (true,
-       false, false, true, true, true, false, false)), (String ((Ascii
-       (false, true, true, true, false, true, false, false)), (String ((Ascii
-       (false, false, true, false, false, false, true, false)), (String
-       ((Ascii (true, false, false, false, false, true, true, false)),
-       (String ((Ascii (false, false, true, false, true, true, true, false)),
-       (String ((Ascii (true, false, true, false, false, true, true, false)),
-       (String ((Ascii (true, true, true, true, false, false, true, false)),
-       (String ((Ascii (false, true, true, false, false, true, true, false)),
-       (String ((Ascii (false, false, true, false, false, false, true,
-       false)), (String ((Ascii (true, false, true, false, false, true, true,
-       false)), (String ((Ascii (true, false, false, false, false, true,
-       true, false)), (String ((Ascii (false, false, true, false, true, true,
-       true, false)), (String ((Ascii (false, false, false, true, false,
-       true, true, false)), (String ((Ascii (false, true, true, false, false,
-       false, true, false)), (String ((Ascii (true, false, false, true,
-       false, true, true, false)), (String ((Ascii (true, false, true, false,
-       false, true, true, false)), (String ((Ascii (false, false, true, true,
-       false, true, true, false)), (String ((Ascii (false, false, true,
-       false, false, true, true, false)),
-       EmptyString))))))))))))))))))))))))))))))))))))))))))))))))))))
-  then Some
-         (match gets r (String ((Ascii (false, false, true, false, false,
-                  false, true, false)), (String ((Ascii (true, false, false,
-                  false, false, true, true, false)), (String ((Ascii (false,
-                  false, true, false, true, true, true, false)), (String
-                  ((Ascii (true, false, true, false, false, true, true,
-                  false)), (String ((Ascii (true, true, true, true, false,
-                  false, true, false)), (String ((Ascii (false, true, true,
-                  false, false, true, true, false)), (String ((Ascii (false,
-                  false, true, false, false, false, true, false)), (String
-                  ((Ascii (true, false, true, false, false, true, true,
-                  false)), (String ((Ascii (true, false, false, false, false,
-                  true, true, false)), (String ((Ascii (false, false, true,
-                  false, true, true, true, false)), (String ((Ascii (false,
-                  false, false, true, false, true, true, false)),
-                  EmptyString)))))))))))))))))))))) with
-          | [] -> spaces (S (S (S (S (S (S O))))))
-          | n0 :: l -> n0 :: l)
-  else if eqb1 name (String ((Ascii (false, true, false, false, false, false,
-            true, false)), (String ((Ascii (true, false, false, false, false,
-            true, true, false)), (String ((Ascii (false, false, true, false,
-            true, true, true, false)), (String ((Ascii (true, true, false,
-            false, false, true, true, false)), (String ((Ascii (false, false,
-            false, true, false, true, true, false)), (String ((Ascii (false,
-            false, false, true, false, false, true, false)), (String ((Ascii
-            (true, false, true, false, false, true, true, false)), (String
-            ((Ascii (true, false, false, false, false, true, true, false)),
-            (String ((Ascii (false, false, true, false, false, true, true,
-            false)), (String ((Ascii (true, false, true, false, false, true,
-            true, false)), (String ((Ascii (false, true, false, false, true,
-            true, true, false)), (String ((Ascii (false, true, true, true,
-            false, true, false, false)), (String ((Ascii (true, false, true,
-            false, false, false, true, false)), (String ((Ascii (false, true,
-            true, false, false, true, true, false)), (String ((Ascii (false,
-            true, true, false, false, true, true, false)), (String ((Ascii
-            (true, false, true, false, false, true, true, false)), (String
-            ((Ascii (true, true, false, false, false, true, true, false)),
-            (String ((Ascii (false, false, true, false, true, true, true,
-            false)), (String ((Ascii (true, false, false, true, false, true,
-            true, false)), (String ((Ascii (false, true, true, false, true,
-            true, true, false)), (String ((Ascii (true, false, true, false,
-            false, true, true, false)), (String ((Ascii (true, false, true,
-            false, false, false, true, false)), (String ((Ascii (false, true,
-            true, true, false, true, true, false)), (String ((Ascii (false,
-            false, true, false, true, true, true, false)), (String ((Ascii
-            (false, true, false, false, true, true, true, false)), (String
-            ((Ascii (true, false, false, true, true, true, true, false)),
-            (String ((Ascii (false, false, true, false, false, false, true,
-            false)), (String ((Ascii (true, false, false, false, false, true,
-            true, false)), (String ((Ascii (false, false, true, false, true,
-            true, true, false)), (String ((Ascii (true, false, true, false,
-            false, true, true, false)), (String ((Ascii (false, true, true,
-            false, false, false, true, false)), (String ((Ascii (true, false,
-            false, true, false, true, true, false)), (String ((Ascii (true,
-            false, true, false, false, true, true, false)), (String ((Ascii
-            (false, false, true, true, false, true, true, false)), (String
-            ((Ascii (false, false, true, false, false, true, true, false)),
-            EmptyString))))))))))))))))))))))))))))))))))))))))))))))))))))))))))))))))))))))
-       then Some
-              (if (&&)
-                    (bytes_eqb
-                      (gets r (String ((Ascii (true, true, false, false,
-                        false, false, true, false)), (String ((Ascii (true,
-                        true, true, true, false, true, true, false)), (String
-                        ((Ascii (true, false, true, true, false, true, true,
-                        false)), (String ((Ascii (false, false, false, false,
-                        true, true, true, false)), (String ((Ascii (true,
-                        false, false, false, false, true, true, false)),
-                        (String ((Ascii (false, true, true, true, false,
-                        true, true, false)), (String ((Ascii (true, false,
-                        false, true, true, true, true, false)), (String
-                        ((Ascii (true, false, true, false, false, false,
-                        true, false)), (String ((Ascii (false, true, true,
-                        true, false, true, true, false)), (String ((Ascii
-                        (false, false, true, false, true, true, true,
-                        false)), (String ((Ascii (false, true, false, false,
-                        true, true, true, false)), (String ((Ascii (true,
-                        false, false, true, true, true, true, false)),
-                        (String ((Ascii (false, false, true, false, false,
-                        false, true, false)), (String ((Ascii (true, false,
-                        true, false, false, true, true, false)), (String
-                        ((Ascii (true, true, false, false, true, true, true,
-                        false)), (String ((Ascii (true, true, false, false,
-                        false, true, true, false)), (String ((Ascii (false,
-                        true, false, false, true, true, true, false)),
-                        (String ((Ascii (true, false, false, true, false,
-                        true, true, false)), (String ((Ascii (false, false,
-                        false, false, true, true, true, false)), (String
-                        ((Ascii (false, false, true, false, true, true, true,
-                        false)), (String ((Ascii (true, false, false, true,
-                        false, true, true, false)), (String ((Ascii (true,
-                        true, true, true, false, true, true, false)), (String
-                        ((Ascii (false, true, true, true, false, true, true,
-                        false)),
-                        EmptyString)))))))))))))))))))))))))))))))))))))))))))))))
-                      aUTOENROLL)
-                    (bytes_eqb
-                      (gets r (String ((Ascii (true, true, false, false,
-                        true, false, true, false)), (String ((Ascii (false,
-                        false, true, false, true, true, true, false)),
-                        (String ((Ascii (true, false, false, false, false,
-                        true, true, false)), (String ((Ascii (false, true,
-                        true, true, false, true, true, false)), (String
-                        ((Ascii (false, false, true, false, false, true,
-                        true, false)), (String ((Ascii (true, false, false,
-                        false, false, true, true, false)), (String ((Ascii
-                        (false, true, false, false, true, true, true,
-                        false)), (String ((Ascii (false, false, true, false,
-                        false, true, true, false)), (String ((Ascii (true,
-                        false, true, false, false, false, true, false)),
-                        (String ((Ascii (false, true, true, true, false,
-                        true, true, false)), (String ((Ascii (false, false,
-                        true, false, true, true, true, false)), (String
-                        ((Ascii (false, true, false, false, true, true, true,
-                        false)), (String ((Ascii (true, false, false, true,
-                        true, true, true, false)), (String ((Ascii (true,
-                        true, false, false, false, false, true, false)),
-                        (String ((Ascii (false, false, true, true, false,
-                        true, true, false)), (String ((Ascii (true, false,
-                        false, false, false, true, true, false)), (String
-                        ((Ascii (true, true, false, false, true, true, true,
-                        false)), (String ((Ascii (true, true, false, false,
-                        true, true, true, false)), (String ((Ascii (true,
-                        true, false, false, false, false, true, false)),
-                        (String ((Ascii (true, true, true, true, false, true,
-                        true, false)), (String ((Ascii (false, false, true,
-                        false, false, true, true, false)), (String ((Ascii
-                        (true, false, true, false, false, true, true,
-                        false)),
-                        EmptyString)))))))))))))))))))))))))))))))))))))))))))))
-                      eNR)
-               then spaces (S (S (S (S (S (S O))))))
-               else stringField
-                      (gets r (String ((Ascii (true, false, true, false,
-                        false, false, true, false)), (String ((Ascii (false,
-                        true, true, false, false, true, true, false)),
-                        (String ((Ascii (false, true, true, false, false,
-                        true, true, false)), (String ((Ascii (true, false,
-                        true, false, false, true, true, false)), (String
-                        ((Ascii (true, true, false, false, false, true, true,
-                        false)), (String ((Ascii (false, false, true, false,
-                        true, true, true, false)), (String ((Ascii (true,
-                        false, false, true, false, true, true, false)),
-                        (String ((Ascii (false, true, true, false, true,
-                        true, true, false)), (String ((Ascii (true, false,
-                        true, false, false, true, true, false)), (String
-                        ((Ascii (true, false, true, false, false, false,
-                        true, false)), (String ((Ascii (false, true, true,
-                        true, false, true, true, false)), (String ((Ascii
-                        (false, false, true, false, true, true, true,
-                        false)), (String ((Ascii (false, true, false, false,
-                        true, true, true, false)), (String ((Ascii (true,
-                        false, false, true, true, true, true, false)),
-                        (String ((Ascii (false, false, true, false, false,
-                        false, true, false)), (String ((Ascii (true, false,
-                        false, false, false, true, true, false)), (String
-                        ((Ascii (false, false, true, false, true, true, true,
-                        false)), (String ((Ascii (true, false, true, false,
-                        false, true, true, false)),
-                        EmptyString))))))))))))))))))))))))))))))))))))) (S
-                      (S (S (S (S (S O)))))))
-       else if eqb1 name (String ((Ascii (false, true, true, false, false,
-                 false, true, false)), (String ((Ascii (true, false, false,
-                 true, false, true, true, false)), (String ((Ascii (false,
-                 false, true, true, false, true, true, false)), (String
-                 ((Ascii (true, false, true, false, false, true, true,
-                 false)), (String ((Ascii (false, false, false, true, false,
-                 false, true, false)), (String ((Ascii (true, false, true,
-                 false, false, true, true, false)), (String ((Ascii (true,
-                 false, false, false, false, true, true, false)), (String
-                 ((Ascii (false, false, true, false, false, true, true,
-                 false)), (String ((Ascii (true, false, true, false, false,
-                 true, true, false)), (String ((Ascii (false, true, false,
-                 false, true, true, true, false)), (String ((Ascii (false,
-                 true, true, true, false, true, false, false)), (String
-                 ((Ascii (true, false, false, true, false, false, true,
-                 false)), (String ((Ascii (true, false, true, true, false,
-                 true, true, false)), (String ((Ascii (true, false, true,
-                 true, false, true, true, false)), (String ((Ascii (true,
-                 false, true, false, false, true, true, false)), (String
-                 ((Ascii (false, false, true, false, false, true, true,
-                 false)), (String ((Ascii (true, false, false, true, false,
-                 true, true, false)), (String ((Ascii (true, false, false,
-                 false, false, true, true, false)), (String ((Ascii (false,
-                 false, true, false, true, true, true, false)), (String
-                 ((Ascii (true, false, true, false, false, true, true,
-                 false)), (String ((Ascii (false, false, true, false, false,
-                 false, true, false)), (String ((Ascii (true, false, true,
-                 false, false, true, true, false)), (String ((Ascii (true,
-                 true, false, false, true, true, true, false)), (String
-                 ((Ascii (false, false, true, false, true, true, true,
-                 false)), (String ((Ascii (true, false, false, true, false,
-                 true, true, false)), (String ((Ascii (false, true, true,
-                 true, false, true, true, false)), (String ((Ascii (true,
-                 false, false, false, false, true, true, false)), (String
-                 ((Ascii (false, false, true, false, true, true, true,
-                 false)), (String ((Ascii (true, false, false, true, false,
-                 true, true, false)), (String ((Ascii (true, true, true,
-                 true, false, true, true, false)), (String ((Ascii (false,
-                 true, true, true, false, true, true, false)), (String
-                 ((Ascii (false, true, true, false, false, false, true,
-                 false)), (String ((Ascii (true, false, false, true, false,
-                 true, true, false)), (String ((Ascii (true, false, true,
-                 false, false, true, true, false)), (String ((Ascii (false,
-                 false, true, true, false, true, true, false)), (String
-                 ((Ascii (false, false, true, false, false, true, true,
-                 false)),
-                 EmptyString))))))))))))))))))))))))))))))))))))))))))))))))))))))))))))))))))))))))
-            then Some
-                   (match gets r (String ((Ascii (true, false, false, true,
-                            false, false, true, false)), (String ((Ascii
-                            (true, false, true, true, false, true, true,
-                            false)), (String ((Ascii (true, false, true,
-                            true, false, true, true, false)), (String ((Ascii
-                            (true, false, true, false, false, true, true,
-                            false)), (String ((Ascii (false, false, true,
-                            false, false, true, true, false)), (String
-                            ((Ascii (true, false, false, true, false, true,
-                            true, false)), (String ((Ascii (true, false,
-                            false, false, false, true, true, false)), (String
-                            ((Ascii (false, false, true, false, true, true,
-                            true, false)), (String ((Ascii (true, false,
-                            true, false, false, true, true, false)), (String
-                            ((Ascii (false, false, true, false, false, false,
-                            true, false)), (String ((Ascii (true, false,
-                            true, false, false, true, true, false)), (String
-                            ((Ascii (true, true, false, false, true, true,
-                            true, false)), (String ((Ascii (false, false,
-                            true, false, true, true, true, false)), (String
-                            ((Ascii (true, false, false, true, false, true,
-                            true, false)), (String ((Ascii (false, true,
-                            true, true, false, true, true, false)), (String
-                            ((Ascii (true, false, false, false, false, true,
-                            true, false)), (String ((Ascii (false, false,
-                            true, false, true, true, true, false)), (String
-                            ((Ascii (true, false, false, true, false, true,
-                            true, false)), (String ((Ascii (true, true, true,
-                            true, false, true, true, false)), (String ((Ascii
-                            (false, true, true, true, false, true, true,
-                            false)),
-                            EmptyString)))))))))))))))))))))))))))))))))))))))) with
-                    | [] -> spaces (S (S (S (S (S (S (S (S (S (S O))))))))))
-                    | n0 :: l ->
-                      sp :: (stringField (trim (n0 :: l)) (S (S (S (S (S (S
-                              (S (S (S O)))))))))))
-            else if eqb1 name (String ((Ascii (false, true, true, false,
-                      false, false, true, false)), (String ((Ascii (true,
-                      false, false, true, false, true, true, false)), (String
-                      ((Ascii (false, false, true, true, false, true, true,
-                      false)), (String ((Ascii (true, false, true, false,
-                      false, true, true, false)), (String ((Ascii (false,
-                      false, false, true, false, false, true, false)),
-                      (String ((Ascii (true, false, true, false, false, true,
-                      true, false)), (String ((Ascii (true, false, false,
-                      false, false, true, true, false)), (String ((Ascii
-                      (false, false, true, false, false, true, true, false)),
-                      (String ((Ascii (true, false, true, false, false, true,
-                      true, false)), (String ((Ascii (false, true, false,
-                      false, true, true, true, false)), (String ((Ascii
-                      (false, true, true, true, false, true, false, false)),
-                      (String ((Ascii (true, false, false, true, false,
-                      false, true, false)), (String ((Ascii (true, false,
-                      true, true, false, true, true, false)), (String ((Ascii
-                      (true, false, true, true, false, true, true, false)),
-                      (String ((Ascii (true, false, true, false, false, true,
-                      true, false)), (String ((Ascii (false, false, true,
-                      false, false, true, true, false)), (String ((Ascii
-                      (true, false, false, true, false, true, true, false)),
-                      (String ((Ascii (true, false, false, false, false,
-                      true, true, false)), (String ((Ascii (false, false,
-                      true, false, true, true, true, false)), (String ((Ascii
-                      (true, false, true, false, false, true, true, false)),
-                      (String ((Ascii (true, true, true, true, false, false,
-                      true, false)), (String ((Ascii (false, true, false,
-                      false, true, true, true, false)), (String ((Ascii
-                      (true, false, false, true, false, true, true, false)),
-                      (String ((Ascii (true, true, true, false, false, true,
-                      true, false)), (String ((Ascii (true, false, false,
-                      true, false, true, true, false)), (String ((Ascii
-                      (false, true, true, true, false, true, true, false)),
-                      (String ((Ascii (false, true, true, false, false,
-                      false, true, false)), (String ((Ascii (true, false,
-                      false, true, false, true, true, false)), (String
-                      ((Ascii (true, false, true, false, false, true, true,
-                      false)), (String ((Ascii (false, false, true, true,
-                      false, true, true, false)), (String ((Ascii (false,
-                      false, true, false, false, true, true, false)),
-                      EmptyString))))))))))))))))))))))))))))))))))))))))))))))))))))))))))))))
-                 then Some
-                        (match gets r (String ((Ascii (true, false, false,
-                                 true, false, false, true, false)), (String
-                                 ((Ascii (true, false, true, true, false,
-                                 true, true, false)), (String ((Ascii (true,
-                                 false, true, true, false, true, true,
-                                 false)), (String ((Ascii (true, false, true,
-                                 false, false, true, true, false)), (String
-                                 ((Ascii (false, false, true, false, false,
-                                 true, true, false)), (String ((Ascii (true,
-                                 false, false, true, false, true, true,
-                                 false)), (String ((Ascii (true, false,
-                                 false, false, false, true, true, false)),
-                                 (String ((Ascii (false, false, true, false,
-                                 true, true, true, false)), (String ((Ascii
-                                 (true, false, true, false, false, true,
-                                 true, false)), (String ((Ascii (true, true,
-                                 true, true, false, false, true, false)),
-                                 (String ((Ascii (false, true, false, false,
-                                 true, true, true, false)), (String ((Ascii
-                                 (true, false, false, true, false, true,
-                                 true, false)), (String ((Ascii (true, true,
-                                 true, false, false, true, true, false)),
-                                 (String ((Ascii (true, false, false, true,
-                                 false, true, true, false)), (String ((Ascii
-                                 (false, true, true, true, false, true, true,
-                                 false)),
-                                 EmptyString)))))))))))))))))))))))))))))) with
-                         | [] ->
-                           spaces (S (S (S (S (S (S (S (S (S (S O))))))))))
-                         | n0 :: l ->
-                           sp :: (stringField (trim (n0 :: l)) (S (S (S (S (S
-                                   (S (S (S (S O)))))))))))
-                 else if eqb1 name (String ((Ascii (false, true, true, false,
-                           false, false, true, false)), (String ((Ascii
-                           (true, false, false, true, false, true, true,
-                           false)), (String ((Ascii (false, false, true,
-                           true, false, true, true, false)), (String ((Ascii
-                           (true, false, true, false, false, true, true,
-                           false)), (String ((Ascii (false, false, false,
-                           true, false, false, true, false)), (String ((Ascii
-                           (true, false, true, false, false, true, true,
-                           false)), (String ((Ascii (true, false, false,
-                           false, false, true, true, false)), (String ((Ascii
-                           (false, false, true, false, false, true, true,
-                           false)), (String ((Ascii (true, false, true,
-                           false, false, true, true, false)), (String ((Ascii
-                           (false, true, false, false, true, true, true,
-                           false)), (String ((Ascii (false, true, true, true,
-                           false, true, false, false)), (String ((Ascii
-                           (false, true, true, false, false, false, true,
-                           false)), (String ((Ascii (true, false, false,
-                           true, false, true, true, false)), (String ((Ascii
-                           (false, false, true, true, false, true, true,
-                           false)), (String ((Ascii (true, false, true,
-                           false, false, true, true, false)), (String ((Ascii
-                           (true, true, false, false, false, false, true,
-                           false)), (String ((Ascii (false, true, false,
-                           false, true, true, true, false)), (String ((Ascii
-                           (true, false, true, false, false, true, true,
-                           false)), (String ((Ascii (true, false, false,
-                           false, false, true, true, false)), (String ((Ascii
-                           (false, false, true, false, true, true, true,
-                           false)), (String ((Ascii (true, false, false,
-                           true, false, true, true, false)), (String ((Ascii
-                           (true, true, true, true, false, true, true,
-                           false)), (String ((Ascii (false, true, true, true,
-                           false, true, true, false)), (String ((Ascii
-                           (false, false, true, false, false, false, true,
-                           false)), (String ((Ascii (true, false, false,
-                           false, false, true, true, false)), (String ((Ascii
-                           (false, false, true, false, true, true, true,
-                           false)), (String ((Ascii (true, false, true,
-                           false, false, true, true, false)), (String ((Ascii
-                           (false, true, true, false, false, false, true,
-                           false)), (String ((Ascii (true, false, false,
-                           true, false, true, true, false)), (String ((Ascii
-                           (true, false, true, false, false, true, true,
-                           false)), (String ((Ascii (false, false, true,
-                           true, false, true, true, false)), (String ((Ascii
-                           (false, false, true, false, false, true, true,
-                           false)),
-                           EmptyString))))))))))))))))))))))))))))))))))))))))))))))))))))))))))))))))
-                      then if Nat.eqb
-                                (rune_count
-                                  (gets r (String ((Ascii (false, true, true,
-                                    false, false, false, true, false)),
-                                    (String ((Ascii (true, false, false,
-                                    true, false, true, true, false)), (String
-                                    ((Ascii (false, false, true, true, false,
-                                    true, true, false)), (String ((Ascii
-                                    (true, false, true, false, false, true,
-                                    true, false)), (String ((Ascii (true,
-                                    true, false, false, false, false, true,
-                                    false)), (String ((Ascii (false, true,
-                                    false, false, true, true, true, false)),
-                                    (String ((Ascii (true, false, true,
-                                    false, false, true, true, false)),
-                                    (String ((Ascii (true, false, false,
-                                    false, false, true, true, false)),
-                                    (String ((Ascii (false, false, true,
-                                    false, true, true, true, false)), (String
-                                    ((Ascii (true, false, false, true, false,
-                                    true, true, false)), (String ((Ascii
-                                    (true, true, true, true, false, true,
-                                    true, false)), (String ((Ascii (false,
-                                    true, true, true, false, true, true,
-                                    false)), (String ((Ascii (false, false,
-                                    true, false, false, false, true, false)),
-                                    (String ((Ascii (true, false, false,
-                                    false, false, true, true, false)),
-                                    (String ((Ascii (false, false, true,
-                                    false, true, true, true, false)), (String
-                                    ((Ascii (true, false, true, false, false,
-                                    true, true, false)),
-                                    EmptyString))))))))))))))))))))))))))))))))))
-                                (S (S (S (S (S (S O))))))
-                           then Some
-                                  (gets r (String ((Ascii (false, true, true,
-                                    false, false, false, true, false)),
-                                    (String ((Ascii (true, false, false,
-                                    true, false, true, true, false)), (String
-                                    ((Ascii (false, false, true, true, false,
-                                    true, true, false)), (String ((Ascii
-                                    (true, false, true, false, false, true,
-                                    true, false)), (String ((Ascii (true,
-                                    true, false, false, false, false, true,
-                                    false)), (String ((Ascii (false, true,
-                                    false, false, true, true, true, false)),
-                                    (String ((Ascii (true, false, true,
-                                    false, false, true, true, false)),
-                                    (String ((Ascii (true, false, false,
-                                    false, false, true, true, false)),
-                                    (String ((Ascii (false, false, true,
-                                    false, true, true, true, false)), (String
-                                    ((Ascii (true, false, false, true, false,
-                                    true, true, false)), (String ((Ascii
-                                    (true, true, true, true, false, true,
-                                    true, false)), (String ((Ascii (false,
-                                    true, true, true, false, true, true,
-                                    false)), (String ((Ascii (false, false,
-                                    true, false, false, false, true, false)),
-                                    (String ((Ascii (true, false, false,
-                                    false, false, true, true, false)),
-                                    (String ((Ascii (false, false, true,
-                                    false, true, true, true, false)), (String
-                                    ((Ascii (true, false, true, false, false,
-                                    true, true, false)),
-                                    EmptyString)))))))))))))))))))))))))))))))))
-                           else None
-                      else if eqb1 name (String ((Ascii (false, true, true,
-                                false, false, false, true, false)), (String
-                                ((Ascii (true, false, false, true, false,
-                                true, true, false)), (String ((Ascii (false,
-                                false, true, true, false, true, true,
-                                false)), (String ((Ascii (true, false, true,
-                                false, false, true, true, false)), (String
-                                ((Ascii (false, false, false, true, false,
-                                false, true, false)), (String ((Ascii (true,
-                                false, true, false, false, true, true,
-                                false)), (String ((Ascii (true, false, false,
-                                false, false, true, true, false)), (String
-                                ((Ascii (false, false, true, false, false,
-                                true, true, false)), (String ((Ascii (true,
-                                false, true, false, false, true, true,
-                                false)), (String ((Ascii (false, true, false,
-                                false, true, true, true, false)), (String
-                                ((Ascii (false, true, true, true, false,
-                                true, false, false)), (String ((Ascii (false,
-                                true, true, false, false, false, true,
-                                false)), (String ((Ascii (true, false, false,
-                                true, false, true, true, false)), (String
-                                ((Ascii (false, false, true, true, false,
-                                true, true, false)), (String ((Ascii (true,
-                                false, true, false, false, true, true,
-                                false)), (String ((Ascii (true, true, false,
-                                false, false, false, true, false)), (String
-                                ((Ascii (false, true, false, false, true,
-                                true, true, false)), (String ((Ascii (true,
-                                false, true, false, false, true, true,
-                                false)), (String ((Ascii (true, false, false,
-                                false, false, true, true, false)), (String
-                                ((Ascii (false, false, true, false, true,
-                                true, true, false)), (String ((Ascii (true,
-                                false, false, true, false, true, true,
-                                false)), (String ((Ascii (true, true, true,
-                                true, false, true, true, false)), (String
-                                ((Ascii (false, true, true, true, false,
-                                true, true, false)), (String ((Ascii (false,
-                                false, true, false, true, false, true,
-                                false)), (String ((Ascii (true, false, false,
-                                true, false, true, true, false)), (String
-                                ((Ascii (true, false, true, true, false,
-                                true, true, false)), (String ((Ascii (true,
-                                false, true, false, false, true, true,
-                                false)), (String ((Ascii (false, true, true,
-                                false, false, false, true, false)), (String
-                                ((Ascii (true, false, false, true, false,
-                                true, true, false)), (String ((Ascii (true,
-                                false, true, false, false, true, true,
-                                false)), (String ((Ascii (false, false, true,
-                                true, false, true, true, false)), (String
-                                ((Ascii (false, false, true, false, false,
-                                true, true, false)),
-                                EmptyString))))))))))))))))))))))))))))))))))))))))))))))))))))))))))))))))
-                           then if Nat.eqb
-                                     (rune_count
-                                       (gets r (String ((Ascii (false, true,
-                                         true, false, false, false, true,
-                                         false)), (String ((Ascii (true,
-                                         false, false, true, false, true,
-                                         true, false)), (String ((Ascii
-                                         (false, false, true, true, false,
-                                         true, true, false)), (String ((Ascii
-                                         (true, false, true, false, false,
-                                         true, true, false)), (String ((Ascii
-                                         (true, true, false, false, false,
-                                         false, true, false)), (String
-                                         ((Ascii (false, true, false, false,
-                                         true, true, true, false)), (String
-                                         ((Ascii (true, false, true, false,
-                                         false, true, true, false)), (String
-                                         ((Ascii (true, false, false, false,
-                                         false, true, true, false)), (String
-                                         ((Ascii (false, false, true, false,
-                                         true, true, true, false)), (String
-                                         ((Ascii (true, false, false, true,
-                                         false, true, true, false)), (String
-                                         ((Ascii (true, true, true, true,
-                                         false, true, true, false)), (String
-                                         ((Ascii (false, true, true, true,
-                                         false, true, true, false)), (String
-                                         ((Ascii (false, false, true, false,
-                                         true, false, true, false)), (String
-                                         ((Ascii (true, false, false, true,
-                                         false, true, true, false)), (String
-                                         ((Ascii (true, false, true, true,
-                                         false, true, true, false)), (String
-                                         ((Ascii (true, false, true, false,
-                                         false, true, true, false)),
-                                         EmptyString))))))))))))))))))))))))))))))))))
-                                     (S (S (S (S O))))
-                                then Some
-                                       (gets r (String ((Ascii (false, true,
-                                         true, false, false, false, true,
-                                         false)), (String ((Ascii (true,
-                                         false, false, true, false, true,
-                                         true, false)), (String ((Ascii
-                                         (false, false, true, true, false,
-                                         true, true, false)), (String ((Ascii
-                                         (true, false, true, false, false,
-                                         true, true, false)), (String ((Ascii
-                                         (true, true, false, false, false,
-                                         false, true, false)), (String
-                                         ((Ascii (false, true, false, false,
-                                         true, true, true, false)), (String
-                                         ((Ascii (true, false, true, false,
-                                         false, true, true, false)), (String
-                                         ((Ascii (true, false, false, false,
-                                         false, true, true, false)), (String
-                                         ((Ascii (false, false, true, false,
-                                         true, true, true, false)), (String
-                                         ((Ascii (true, false, false, true,
-                                         false, true, true, false)), (String
-                                         ((Ascii (true, true, true, true,
-                                         false, true, true, false)), (String
-                                         ((Ascii (false, true, true, true,
-                                         false, true, true, false)), (String
-                                         ((Ascii (false, false, true, false,
-                                         true, false, true, false)), (String
-                                         ((Ascii (true, false, false, true,
-                                         false, true, true, false)), (String
-                                         ((Ascii (true, false, true, true,
-                                         false, true, true, false)), (String
-                                         ((Ascii (true, false, true, false,
-                                         false, true, true, false)),
-                                         EmptyString)))))))))))))))))))))))))))))))))
-                                else None
-                           else if eqb1 name (String ((Ascii (true, false,
-                                     false, true, false, false, true,
-                                     false)), (String ((Ascii (true, false,
-                                     false, false, false, false, true,
-                                     false)), (String ((Ascii (false, false,
-                                     true, false, true, false, true, false)),
-                                     (String ((Ascii (false, true, false,
-                                     false, false, false, true, false)),
-                                     (String ((Ascii (true, false, false,
-                                     false, false, true, true, false)),
-                                     (String ((Ascii (false, false, true,
-                                     false, true, true, true, false)),
-                                     (String ((Ascii (true, true, false,
-                                     false, false, true, true, false)),
-                                     (String ((Ascii (false, false, false,
-                                     true, false, true, true, false)),
-                                     (String ((Ascii (false, false, false,
-                                     true, false, false, true, false)),
-                                     (String ((Ascii (true, false, true,
-                                     false, false, true, true, false)),
-                                     (String ((Ascii (true, false, false,
-                                     false, false, true, true, false)),
-                                     (String ((Ascii (false, false, true,
-                                     false, false, true, true, false)),
-                                     (String ((Ascii (true, false, true,
-                                     false, false, true, true, false)),
-                                     (String ((Ascii (false, true, false,
-                                     false, true, true, true, false)),
-                                     (String ((Ascii (false, true, true,
-                                     true, false, true, false, false)),
-                                     (String ((Ascii (false, true, true,
-                                     false, false, false, true, false)),
-                                     (String ((Ascii (true, true, true, true,
-                                     false, true, true, false)), (String
-                                     ((Ascii (false, true, false, false,
-                                     true, true, true, false)), (String
-                                     ((Ascii (true, false, true, false,
-                                     false, true, true, false)), (String
-                                     ((Ascii (true, false, false, true,
-                                     false, true, true, false)), (String
-                                     ((Ascii (true, true, true, false, false,
-                                     true, true, false)), (String ((Ascii
-                                     (false, true, true, true, false, true,
-                                     true, false)), (String ((Ascii (true,
-                                     false, true, false, false, false, true,
-                                     false)), (String ((Ascii (false, false,
-                                     false, true, true, true, true, false)),
-                                     (String ((Ascii (true, true, false,
-                                     false, false, true, true, false)),
-                                     (String ((Ascii (false, false, false,
-                                     true, false, true, true, false)),
-                                     (String ((Ascii (true, false, false,
-                                     false, false, true, true, false)),
-                                     (String ((Ascii (false, true, true,
-                                     true, false, true, true, false)),
-                                     (String ((Ascii (true, true, true,
-                                     false, false, true, true, false)),
-                                     (String ((Ascii (true, false, true,
-                                     false, false, true, true, false)),
-                                     (String ((Ascii (false, true, false,
-                                     false, true, false, true, false)),
-                                     (String ((Ascii (true, false, true,
-                                     false, false, true, true, false)),
-                                     (String ((Ascii (false, true, true,
-                                     false, false, true, true, false)),
-                                     (String ((Ascii (true, false, true,
-                                     false, false, true, true, false)),
-                                     (String ((Ascii (false, true, false,
-                                     false, true, true, true, false)),
-                                     (String ((Ascii (true, false, true,
-                                     false, false, true, true, false)),
-                                     (String ((Ascii (false, true, true,
-                                     true, false, true, true, false)),
-                                     (String ((Ascii (true, true, false,
-                                     false, false, true, true, false)),
-                                     (String ((Ascii (true, false, true,
-                                     false, false, true, true, false)),
-                                     (String ((Ascii (false, true, true,
-                                     false, false, false, true, false)),
-                                     (String ((Ascii (true, false, false,
-                                     true, false, true, true, false)),
-                                     (String ((Ascii (true, false, true,
-                                     false, false, true, true, false)),
-                                     (String ((Ascii (false, false, true,
-                                     true, false, true, true, false)),
-                                     (String ((Ascii (false, false, true,
-                                     false, false, true, true, false)),
-                                     EmptyString))))))))))))))))))))))))))))))))))))))))))))))))))))))))))))))))))))))))))))))))))))))))
-                                then Some
-                                       (if Z.eqb
-                                             (geti r (String ((Ascii (false,
-                                               true, true, false, false,
-                                               false, true, false)), (String
-                                               ((Ascii (true, true, true,
-                                               true, false, true, true,
-                                               false)), (String ((Ascii
-                                               (false, true, false, false,
-                                               true, true, true, false)),
-                                               (String ((Ascii (true, false,
-                                               true, false, false, true,
-                                               true, false)), (String ((Ascii
-                                               (true, false, false, true,
-                                               false, true, true, false)),
-                                               (String ((Ascii (true, true,
-                                               true, false, false, true,
-                                               true, false)), (String ((Ascii
-                                               (false, true, true, true,
-                                               false, true, true, false)),
-                                               (String ((Ascii (true, false,
-                                               true, false, false, false,
-                                               true, false)), (String ((Ascii
-                                               (false, false, false, true,
-                                               true, true, true, false)),
-                                               (String ((Ascii (true, true,
-                                               false, false, false, true,
-                                               true, false)), (String ((Ascii
-                                               (false, false, false, true,
-                                               false, true, true, false)),
-                                               (String ((Ascii (true, false,
-                                               false, false, false, true,
-                                               true, false)), (String ((Ascii
-                                               (false, true, true, true,
-                                               false, true, true, false)),
-                                               (String ((Ascii (true, true,
-                                               true, false, false, true,
-                                               true, false)), (String ((Ascii
-                                               (true, false, true, false,
-                                               false, true, true, false)),
-                                               (String ((Ascii (false, true,
-                                               false, false, true, false,
-                                               true, false)), (String ((Ascii
-                                               (true, false, true, false,
-                                               false, true, true, false)),
-                                               (String ((Ascii (false, true,
-                                               true, false, false, true,
-                                               true, false)), (String ((Ascii
-                                               (true, false, true, false,
-                                               false, true, true, false)),
-                                               (String ((Ascii (false, true,
-                                               false, false, true, true,
-                                               true, false)), (String ((Ascii
-                                               (true, false, true, false,
-                                               false, true, true, false)),
-                                               (String ((Ascii (false, true,
-                                               true, true, false, true, true,
-                                               false)), (String ((Ascii
-                                               (true, true, false, false,
-                                               false, true, true, false)),
-                                               (String ((Ascii (true, false,
-                                               true, false, false, true,
-                                               true, false)), (String ((Ascii
-                                               (true, false, false, true,
-                                               false, false, true, false)),
-                                               (String ((Ascii (false, true,
-                                               true, true, false, true, true,
-                                               false)), (String ((Ascii
-                                               (false, false, true, false,
-                                               false, true, true, false)),
-                                               (String ((Ascii (true, false,
-                                               false, true, false, true,
-                                               true, false)), (String ((Ascii
-                                               (true, true, false, false,
-                                               false, true, true, false)),
-                                               (String ((Ascii (true, false,
-                                               false, false, false, true,
-                                               true, false)), (String ((Ascii
-                                               (false, false, true, false,
-                                               true, true, true, false)),
-                                               (String ((Ascii (true, true,
-                                               true, true, false, true, true,
-                                               false)), (String ((Ascii
-                                               (false, true, false, false,
-                                               true, true, true, false)),
-                                               EmptyString)))))))))))))))))))))))))))))))))))))))))))))))))))))))))))))))))))
-                                             (Zpos (XI XH))
-                                        then spaces (S (S (S (S (S (S (S (S
-                                               (S (S (S (S (S (S (S
-                                               O)))))))))))))))
-                                        else alphaField
-                                               (gets r (String ((Ascii
-                                                 (false, true, true, false,
-                                                 false, false, true, false)),
-                                                 (String ((Ascii (true, true,
-                                                 true, true, false, true,
-                                                 true, false)), (String
-                                                 ((Ascii (false, true, false,
-                                                 false, true, true, true,
-                                                 false)), (String ((Ascii
-                                                 (true, false, true, false,
-                                                 false, true, true, false)),
-                                                 (String ((Ascii (true,
-                                                 false, false, true, false,
-                                                 true, true, false)), (String
-                                                 ((Ascii (true, true, true,
-                                                 false, false, true, true,
-                                                 false)), (String ((Ascii
-                                                 (false, true, true, true,
-                                                 false, true, true, false)),
-                                                 (String ((Ascii (true,
-                                                 false, true, false, false,
-                                                 false, true, false)),
-                                                 (String ((Ascii (false,
-                                                 false, false, true, true,
-                                                 true, true, false)), (String
-                                                 ((Ascii (true, true, false,
-                                                 false, false, true, true,
-                                                 false)), (String ((Ascii
-                                                 (false, false, false, true,
-                                                 false, true, true, false)),
-                                                 (String ((Ascii (true,
-                                                 false, false, false, false,
-                                                 true, true, false)), (String
-                                                 ((Ascii (false, true, true,
-                                                 true, false, true, true,
-                                                 false)), (String ((Ascii
-                                                 (true, true, true, false,
-                                                 false, true, true, false)),
-                                                 (String ((Ascii (true,
-                                                 false, true, false, false,
-                                                 true, true, false)), (String
-                                                 ((Ascii (false, true, false,
-                                                 false, true, false, true,
-                                                 false)), (String ((Ascii
-                                                 (true, false, true, false,
-                                                 false, true, true, false)),
-                                                 (String ((Ascii (false,
-                                                 true, true, false, false,
-                                                 true, true, false)), (String
-                                                 ((Ascii (true, false, true,
-                                                 false, false, true, true,
-                                                 false)), (String ((Ascii
-                                                 (false, true, false, false,
-                                                 true, true, true, false)),
-                                                 (String ((Ascii (true,
-                                                 false, true, false, false,
-                                                 true, true, false)), (String
-                                                 ((Ascii (false, true, true,
-                                                 true, false, true, true,
-                                                 false)), (String ((Ascii
-                                                 (true, true, false, false,
-                                                 false, true, true, false)),
-                                                 (String ((Ascii (true,
-                                                 false, true, false, false,
-                                                 true, true, false)),
-                                                 EmptyString)))))))))))))))))))))))))))))))))))))))))))))))))
-                                               (S (S (S (S (S (S (S (S (S (S
-                                               (S (S (S (S (S O))))))))))))))))
-                                else if eqb1 name (String ((Ascii (true,
-                                          false, false, false, false, false,
-                                          true, false)), (String ((Ascii
-                                          (false, false, true, false, false,
-                                          true, true, false)), (String
-                                          ((Ascii (false, false, true, false,
-                                          false, true, true, false)), (String
-                                          ((Ascii (true, false, true, false,
-                                          false, true, true, false)), (String
-                                          ((Ascii (false, true, true, true,
-                                          false, true, true, false)), (String
-                                          ((Ascii (false, false, true, false,
-                                          false, true, true, false)), (String
-                                          ((Ascii (true, false, false, false,
-                                          false, true, true, false)), (String
-                                          ((Ascii (true, false, false, true,
-                                          true, true, false, false)), (String
-                                          ((Ascii (false, false, false, true,
-                                          true, true, false, false)), (String
-                                          ((Ascii (false, true, true, true,
-                                          false, true, false, false)),
-                                          (String ((Ascii (true, true, false,
-                                          false, false, false, true, false)),
-                                          (String ((Ascii (true, true, true,
-                                          true, false, true, true, false)),
-                                          (String ((Ascii (false, true,
-                                          false, false, true, true, true,
-                                          false)), (String ((Ascii (false,
-                                          true, false, false, true, true,
-                                          true, false)), (String ((Ascii
-                                          (true, false, true, false, false,
-                                          true, true, false)), (String
-                                          ((Ascii (true, true, false, false,
-                                          false, true, true, false)), (String
-                                          ((Ascii (false, false, true, false,
-                                          true, true, true, false)), (String
-                                          ((Ascii (true, false, true, false,
-                                          false, true, true, false)), (String
-                                          ((Ascii (false, false, true, false,
-                                          false, true, true, false)), (String
-                                          ((Ascii (false, false, true, false,
-                                          false, false, true, false)),
-                                          (String ((Ascii (true, false,
-                                          false, false, false, true, true,
-                                          false)), (String ((Ascii (false,
-                                          false, true, false, true, true,
-                                          true, false)), (String ((Ascii
-                                          (true, false, false, false, false,
-                                          true, true, false)), (String
-                                          ((Ascii (false, true, true, false,
-                                          false, false, true, false)),
-                                          (String ((Ascii (true, false,
-                                          false, true, false, true, true,
-                                          false)), (String ((Ascii (true,
-                                          false, true, false, false, true,
-                                          true, false)), (String ((Ascii
-                                          (false, false, true, true, false,
-                                          true, true, false)), (String
-                                          ((Ascii (false, false, true, false,
-                                          false, true, true, false)),
-                                          EmptyString))))))))))))))))))))))))))))))))))))))))))))))))))))))))
-                                     then Some
-                                            (match gets r (String ((Ascii
-                                                     (true, false, false,
-                                                     true, false, true, true,
-                                                     false)), (String ((Ascii
-                                                     (true, false, false,
-                                                     false, false, true,
-                                                     true, false)), (String
-                                                     ((Ascii (false, false,
-                                                     true, false, true, true,
-                                                     true, false)), (String
-                                                     ((Ascii (true, true,
-                                                     false, false, false,
-                                                     false, true, false)),
-                                                     (String ((Ascii (true,
-                                                     true, true, true, false,
-                                                     true, true, false)),
-                                                     (String ((Ascii (false,
-                                                     true, false, false,
-                                                     true, true, true,
-                                                     false)), (String ((Ascii
-                                                     (false, true, false,
-                                                     false, true, true, true,
-                                                     false)), (String ((Ascii
-                                                     (true, false, true,
-                                                     false, false, true,
-                                                     true, false)), (String
-                                                     ((Ascii (true, true,
-                                                     false, false, false,
-                                                     true, true, false)),
-                                                     (String ((Ascii (false,
-                                                     false, true, false,
-                                                     true, true, true,
-                                                     false)), (String ((Ascii
-                                                     (true, false, true,
-                                                     false, false, true,
-                                                     true, false)), (String
-                                                     ((Ascii (false, false,
-                                                     true, false, false,
-                                                     true, true, false)),
-                                                     (String ((Ascii (false,
-                                                     false, true, false,
-                                                     false, false, true,
-                                                     false)), (String ((Ascii
-                                                     (true, false, false,
-                                                     false, false, true,
-                                                     true, false)), (String
-                                                     ((Ascii (false, false,
-                                                     true, false, true, true,
-                                                     true, false)), (String
-                                                     ((Ascii (true, false,
-                                                     false, false, false,
-                                                     true, true, false)),
-                                                     EmptyString)))))))))))))))))))))))))))))))) with
-                                             | [] ->
-                                               alphaField
-                                                 (gets r (String ((Ascii
-                                                   (true, true, false, false,
-                                                   false, false, true,
-                                                   false)), (String ((Ascii
-                                                   (true, true, true, true,
-                                                   false, true, true,
-                                                   false)), (String ((Ascii
-                                                   (false, true, false,
-                                                   false, true, true, true,
-                                                   false)), (String ((Ascii
-                                                   (false, true, false,
-                                                   false, true, true, true,
-                                                   false)), (String ((Ascii
-                                                   (true, false, true, false,
-                                                   false, true, true,
-                                                   false)), (String ((Ascii
-                                                   (true, true, false, false,
-                                                   false, true, true,
-                                                   false)), (String ((Ascii
-                                                   (false, false, true,
-                                                   false, true, true, true,
-                                                   false)), (String ((Ascii
-                                                   (true, false, true, false,
-                                                   false, true, true,
-                                                   false)), (String ((Ascii
-                                                   (false, false, true,
-                                                   false, false, true, true,
-                                                   false)), (String ((Ascii
-                                                   (false, false, true,
-                                                   false, false, false, true,
-                                                   false)), (String ((Ascii
-                                                   (true, false, false,
-                                                   false, false, true, true,
-                                                   false)), (String ((Ascii
-                                                   (false, false, true,
-                                                   false, true, true, true,
-                                                   false)), (String ((Ascii
-                                                   (true, false, false,
-                                                   false, false, true, true,
-                                                   false)),
-                                                   EmptyString)))))))))))))))))))))))))))
-                                                 (S (S (S (S (S (S (S (S (S
-                                                 (S (S (S (S (S (S (S (S (S
-                                                 (S (S (S (S (S (S (S (S (S
-                                                 (S (S
-                                                 O)))))))))))))))))))))))))))))
-                                             | n0 :: l ->
-                                               app
-                                                 (alphaField
-                                                   (gets r (String ((Ascii
-                                                     (true, true, false,
-                                                     false, false, false,
-                                                     true, false)), (String
-                                                     ((Ascii (true, true,
-                                                     true, true, false, true,
-                                                     true, false)), (String
-                                                     ((Ascii (false, true,
-                                                     false, false, true,
-                                                     true, true, false)),
-                                                     (String ((Ascii (false,
-                                                     true, false, false,
-                                                     true, true, true,
-                                                     false)), (String ((Ascii
-                                                     (true, false, true,
-                                                     false, false, true,
-                                                     true, false)), (String
-                                                     ((Ascii (true, true,
-                                                     false, false, false,
-                                                     true, true, false)),
-                                                     (String ((Ascii (false,
-                                                     false, true, false,
-                                                     true, true, true,
-                                                     false)), (String ((Ascii
-                                                     (true, false, true,
-                                                     false, false, true,
-                                                     true, false)), (String
-                                                     ((Ascii (false, false,
-                                                     true, false, false,
-                                                     true, true, false)),
-                                                     (String ((Ascii (false,
-                                                     false, true, false,
-                                                     false, false, true,
-                                                     false)), (String ((Ascii
-                                                     (true, false, false,
-                                                     false, false, true,
-                                                     true, false)), (String
-                                                     ((Ascii (false, false,
-                                                     true, false, true, true,
-                                                     true, false)), (String
-                                                     ((Ascii (true, false,
-                                                     false, false, false,
-                                                     true, true, false)),
-                                                     EmptyString)))))))))))))))))))))))))))
-                                                   (S (S (S (S (S (S (S (S (S
-                                                   (S (S (S (S (S (S (S (S (S
-                                                   (S (S (S (S (S (S (S (S (S
-                                                   (S (S
-                                                   O))))))))))))))))))))))))))))))
-                                                 (alphaField (n0 :: l) (S (S
-                                                   (S (S (S (S O))))))))
-                                     else None
-
-(** val render_seg : recval -> seg -> bytes **)
-
-let render_seg r = function
-| SLit bs -> bs
-| SAlpha (f, w) -> alphaField (gets r f) w
-| SNum (f, w) -> numericField (geti r f) w
-| SStr (f, w) -> stringField (gets r f) w
-| SRaw f -> gets r f
-| SItoa f -> itoa (geti r f)
-| SCustom (n0, _) ->
-  (match render_custom n0 r with
-   | Some bs -> bs
-   | None -> [])
-| SUnknown _ -> []
-
-(** val render : layout -> recval -> bytes **)
-
-let render l r =
-  concat (map (render_seg r) l.l_segs)
-
-(** val units : indexing -> bytes -> bytes list **)
-
-let units ix s =
-  match ix with
-  | IRune -> map snd (chunks s)
-  | IByte -> map (fun b -> b :: []) s
-
-(** val sub0 : bytes list -> nat -> nat -> bytes **)
-
-let sub0 us lo hi =
-  concat (firstn (sub hi lo) (skipn lo us))
-
-(** val two : n -> n -> n **)
-
-let two a b =
-  N.add
-    (N.mul (N.sub a (Npos (XO (XO (XO (XO (XI XH))))))) (Npos (XO (XI (XO
-      XH))))) (N.sub b (Npos (XO (XO (XO (XO (XI XH)))))))
-
-(** val valid_date : bytes -> bool **)
-
-let valid_date s = match s with
-| [] -> false
-| y1 :: l ->
-  (match l with
-   | [] -> false
-   | y2 :: l0 ->
-     (match l0 with
-      | [] -> false
-      | m1 :: l1 ->
-        (match l1 with
-         | [] -> false
-         | m2 :: l2 ->
-           (match l2 with
-            | [] -> false
-            | d1 :: l3 ->
-              (match l3 with
-               | [] -> false
-               | d2 :: l4 ->
-                 (match l4 with
-                  | [] ->
-                    (&&) (forallb is_digit s)
-                      (let yy = two y1 y2 in
-                       let mm = two m1 m2 in
-                       let dd = two d1 d2 in
-                       let year =
-                         if N.ltb yy (Npos (XI (XO (XI (XO (XO (XO XH)))))))
-                         then N.add (Npos (XO (XO (XO (XO (XI (XO (XI (XI (XI
-                                (XI XH))))))))))) yy
-                         else N.add (Npos (XO (XO (XI (XI (XO (XI (XI (XO (XI
-                                (XI XH))))))))))) yy
-                       in
-                       let leap =
-                         (||)
-                           ((&&)
-                             (N.eqb (N.modulo year (Npos (XO (XO XH)))) N0)
-                             (negb
-                               (N.eqb
-                                 (N.modulo year (Npos (XO (XO (XI (XO (XO (XI
-                                   XH)))))))) N0)))
-                           (N.eqb
-                             (N.modulo year (Npos (XO (XO (XO (XO (XI (XO (XO
-                               (XI XH)))))))))) N0)
-                       in
-                       let dim =
-                         if N.eqb mm (Npos (XO XH))
-                         then if leap
-                              then Npos (XI (XO (XI (XI XH))))
-                              else Npos (XO (XO (XI (XI XH))))
-                         else if (||)
-                                   ((||)
-                                     ((||) (N.eqb mm (Npos (XO (XO XH))))
-                                       (N.eqb mm (Npos (XO (XI XH)))))
-                                     (N.eqb mm (Npos (XI (XO (XO XH))))))
-                                   (N.eqb mm (Npos (XI (XI (XO XH)))))
-                              then Npos (XO (XI (XI (XI XH))))
-                              else Npos (XI (XI (XI (XI XH))))
-                       in
-                       (&&)
-                         ((&&)
-                           ((&&) (N.leb (Npos XH) mm)
-                             (N.leb mm (Npos (XO (XO (XI XH))))))
-                           (N.leb (Npos XH) dd)) (N.leb dd dim))
-                  | _ :: _ -> false))))))
-
-(** val valid_time : bytes -> bool **)
-
-let valid_time = function
-| [] -> false
-| h1 :: l ->
-  (match l with
-   | [] -> false
-   | h2 :: l0 ->
-     (match l0 with
-      | [] -> false
-      | m1 :: l1 ->
-        (match l1 with
-         | [] -> false
-         | m2 :: l2 ->
-           (match l2 with
-            | [] ->
-              (&&)
-                ((&&)
-                  ((&&)
-                    ((&&)
-                      ((&&) (N.leb (Npos (XO (XO (XO (XO (XI XH)))))) h1)
-                        (N.leb h1 (Npos (XO (XI (XO (XO (XI XH))))))))
-                      (is_digit h2))
-                    (N.leb (Npos (XO (XO (XO (XO (XI XH)))))) m1))
-                  (N.leb m1 (Npos (XI (XO (XI (XO (XI XH)))))))) (is_digit m2)
-            | _ :: _ -> false))))
-
-(** val validateSettlementDate : bytes -> bytes **)
-
-let validateSettlementDate s =
-  if (||) (bytes_eqb s (spaces (S (S (S O)))))
-       (negb (Nat.eqb (rune_count s) (S (S (S O)))))
-  then spaces (S (S (S O)))
-  else (match atoi_opt s with
-        | Some d ->
-          if (&&) (Z.leb (Zpos XH) d)
-               (Z.leb d (Zpos (XO (XI (XI (XI (XO (XI (XI (XO XH))))))))))
-          then s
-          else spaces (S (S (S O)))
-        | None -> spaces (S (S (S O))))
-
-(** val ten_zeros : bytes **)
-
-let ten_zeros =
-  zeros (S (S (S (S (S (S (S (S (S (S O))))))))))
-
-(** val trimRoutingNumberLeadingZero : bytes -> bytes **)
-
-let trimRoutingNumberLeadingZero s = match s with
-| [] -> trim s
-| n0 :: t ->
-  (match n0 with
-   | N0 -> trim s
-   | Npos p ->
-     (match p with
-      | XO p0 ->
-        (match p0 with
-         | XO p1 ->
-           (match p1 with
-            | XO p2 ->
-              (match p2 with
-               | XO p3 ->
-                 (match p3 with
-                  | XI p4 ->
-                    (match p4 with
-                     | XH ->
-                       if (&&)
-                            (Nat.eqb (rune_count s) (S (S (S (S (S (S (S (S
-                              (S (S O)))))))))))
-                            (negb (bytes_eqb s ten_zeros))
-                       then trim t
-                       else trim s
-                     | _ -> trim s)
-                  | _ -> trim s)
-               | _ -> trim s)
-            | _ -> trim s)
-         | _ -> trim s)
-      | _ -> trim s))
-
-(** val conv_str : string -> bytes -> bytes option **)
-
-let conv_str fn s =
-  if (||)
-       ((||)
-         (eqb1 fn (String ((Ascii (false, false, false, false, true, true,
-           true, false)), (String ((Ascii (true, false, false, false, false,
-           true, true, false)), (String ((Ascii (false, true, false, false,
-           true, true, true, false)), (String ((Ascii (true, true, false,
-           false, true, true, true, false)), (String ((Ascii (true, false,
-           true, false, false, true, true, false)), (String ((Ascii (true,
-           true, false, false, true, false, true, false)), (String ((Ascii
-           (false, false, true, false, true, true, true, false)), (String
-           ((Ascii (false, true, false, false, true, true, true, false)),
-           (String ((Ascii (true, false, false, true, false, true, true,
-           false)), (String ((Ascii (false, true, true, true, false, true,
-           true, false)), (String ((Ascii (true, true, true, false, false,
-           true, true, false)), (String ((Ascii (false, true, true, false,
-           false, false, true, false)), (String ((Ascii (true, false, false,
-           true, false, true, true, false)), (String ((Ascii (true, false,
-           true, false, false, true, true, false)), (String ((Ascii (false,
-           false, true, true, false, true, true, false)), (String ((Ascii
-           (false, false, true, false, false, true, true, false)),
-           EmptyString)))))))))))))))))))))))))))))))))
-         (eqb1 fn (String ((Ascii (true, true, false, false, true, true,
-           true, false)), (String ((Ascii (false, false, true, false, true,
-           true, true, false)), (String ((Ascii (false, true, false, false,
-           true, true, true, false)), (String ((Ascii (true, false, false,
-           true, false, true, true, false)), (String ((Ascii (false, true,
-           true, true, false, true, true, false)), (String ((Ascii (true,
-           true, true, false, false, true, true, false)), (String ((Ascii
-           (true, true, false, false, true, true, true, false)), (String
-           ((Ascii (false, true, true, true, false, true, false, false)),
-           (String ((Ascii (false, false, true, false, true, false, true,
-           false)), (String ((Ascii (false, true, false, false, true, true,
-           true, false)), (String ((Ascii (true, false, false, true, false,
-           true, true, false)), (String ((Ascii (true, false, true, true,
-           false, true, true, false)), (String ((Ascii (true, true, false,
-           false, true, false, true, false)), (String ((Ascii (false, false,
-           false, false, true, true, true, false)), (String ((Ascii (true,
-           false, false, false, false, true, true, false)), (String ((Ascii
-           (true, true, false, false, false, true, true, false)), (String
-           ((Ascii (true, false, true, false, false, true, true, false)),
-           EmptyString))))))))))))))))))))))))))))))))))))
-       (eqb1 fn (String ((Ascii (false, false, false, false, true, true,
-         true, false)), (String ((Ascii (true, false, false, false, false,
-         true, true, false)), (String ((Ascii (false, true, false, false,
-         true, true, true, false)), (String ((Ascii (true, true, false,
-         false, true, true, true, false)), (String ((Ascii (true, false,
-         true, false, false, true, true, false)), (String ((Ascii (true,
-         true, false, false, true, false, true, false)), (String ((Ascii
-         (false, false, true, false, true, true, true, false)), (String
-         ((Ascii (false, true, false, false, true, true, true, false)),
-         (String ((Ascii (true, false, false, true, false, true, true,
-         false)), (String ((Ascii (false, true, true, true, false, true,
-         true, false)), (String ((Ascii (true, true, true, false, false,
-         true, true, false)), (String ((Ascii (false, true, true, false,
-         false, false, true, false)), (String ((Ascii (true, false, false,
-         true, false, true, true, false)), (String ((Ascii (true, false,
-         true, false, false, true, true, false)), (String ((Ascii (false,
-         false, true, true, false, true, true, false)), (String ((Ascii
-         (false, false, true, false, false, true, true, false)), (String
-         ((Ascii (true, true, true, false, true, false, true, false)),
-         (String ((Ascii (true, false, false, true, false, true, true,
-         false)), (String ((Ascii (false, false, true, false, true, true,
-         true, false)), (String ((Ascii (false, false, false, true, false,
-         true, true, false)), (String ((Ascii (true, true, true, true, false,
-         false, true, false)), (String ((Ascii (false, false, false, false,
-         true, true, true, false)), (String ((Ascii (false, false, true,
-         false, true, true, true, false)), (String ((Ascii (true, true,
-         false, false, true, true, true, false)),
-         EmptyString)))))))))))))))))))))))))))))))))))))))))))))))))
-  then Some (trim s)
-  else if eqb1 fn (String ((Ascii (false, false, true, false, true, true,
-            true, false)), (String ((Ascii (false, true, false, false, true,
-            true, true, false)), (String ((Ascii (true, false, false, true,
-            false, true, true, false)), (String ((Ascii (true, false, true,
-            true, false, true, true, false)), (String ((Ascii (false, true,
-            false, false, true, false, true, false)), (String ((Ascii (true,
-            true, true, true, false, true, true, false)), (String ((Ascii
-            (true, false, true, false, true, true, true, false)), (String
-            ((Ascii (false, false, true, false, true, true, true, false)),
-            (String ((Ascii (true, false, false, true, false, true, true,
-            false)), (String ((Ascii (false, true, true, true, false, true,
-            true, false)), (String ((Ascii (true, true, true, false, false,
-            true, true, false)), (String ((Ascii (false, true, true, true,
-            false, false, true, false)), (String ((Ascii (true, false, true,
-            false, true, true, true, false)), (String ((Ascii (true, false,
-            true, true, false, true, true, false)), (String ((Ascii (false,
-            true, false, false, false, true, true, false)), (String ((Ascii
-            (true, false, true, false, false, true, true, false)), (String
-            ((Ascii (false, true, false, false, true, true, true, false)),
-            (String ((Ascii (false, false, true, true, false, false, true,
-            false)), (String ((Ascii (true, false, true, false, false, true,
-            true, false)), (String ((Ascii (true, false, false, false, false,
-            true, true, false)), (String ((Ascii (false, false, true, false,
-            false, true, true, false)), (String ((Ascii (true, false, false,
-            true, false, true, true, false)), (String ((Ascii (false, true,
-            true, true, false, true, true, false)), (String ((Ascii (true,
-            true, true, false, false, true, true, false)), (String ((Ascii
-            (false, true, false, true, true, false, true, false)), (String
-            ((Ascii (true, false, true, false, false, true, true, false)),
-            (String ((Ascii (false, true, false, false, true, true, true,
-            false)), (String ((Ascii (true, true, true, true, false, true,
-            true, false)),
-            EmptyString))))))))))))))))))))))))))))))))))))))))))))))))))))))))
-       then Some (trimRoutingNumberLeadingZero s)
-       else if eqb1 fn (String ((Ascii (false, true, true, false, true, true,
-                 true, false)), (String ((Ascii (true, false, false, false,
-                 false, true, true, false)), (String ((Ascii (false, false,
-                 true, true, false, true, true, false)), (String ((Ascii
-                 (true, false, false, true, false, true, true, false)),
-                 (String ((Ascii (false, false, true, false, false, true,
-                 true, false)), (String ((Ascii (true, false, false, false,
-                 false, true, true, false)), (String ((Ascii (false, false,
-                 true, false, true, true, true, false)), (String ((Ascii
-                 (true, false, true, false, false, true, true, false)),
-                 (String ((Ascii (true, true, false, false, true, false,
-                 true, false)), (String ((Ascii (true, false, false, true,
-                 false, true, true, false)), (String ((Ascii (true, false,
-                 true, true, false, true, true, false)), (String ((Ascii
-                 (false, false, false, false, true, true, true, false)),
-                 (String ((Ascii (false, false, true, true, false, true,
-                 true, false)), (String ((Ascii (true, false, true, false,
-                 false, true, true, false)), (String ((Ascii (false, false,
-                 true, false, false, false, true, false)), (String ((Ascii
-                 (true, false, false, false, false, true, true, false)),
-                 (String ((Ascii (false, false, true, false, true, true,
-                 true, false)), (String ((Ascii (true, false, true, false,
-                 false, true, true, false)),
-                 EmptyString))))))))))))))))))))))))))))))))))))
-            then Some (if valid_date s then s else [])
-            else if eqb1 fn (String ((Ascii (false, true, true, false, true,
-                      true, true, false)), (String ((Ascii (true, false,
-                      false, false, false, true, true, false)), (String
-                      ((Ascii (false, false, true, true, false, true, true,
-                      false)), (String ((Ascii (true, false, false, true,
-                      false, true, true, false)), (String ((Ascii (false,
-                      false, true, false, false, true, true, false)), (String
-                      ((Ascii (true, false, false, false, false, true, true,
-                      false)), (String ((Ascii (false, false, true, false,
-                      true, true, true, false)), (String ((Ascii (true,
-                      false, true, false, false, true, true, false)), (String
-                      ((Ascii (true, true, false, false, true, false, true,
-                      false)), (String ((Ascii (true, false, false, true,
-                      false, true, true, false)), (String ((Ascii (true,
-                      false, true, true, false, true, true, false)), (String
-                      ((Ascii (false, false, false, false, true, true, true,
-                      false)), (String ((Ascii (false, false, true, true,
-                      false, true, true, false)), (String ((Ascii (true,
-                      false, true, false, false, true, true, false)), (String
-                      ((Ascii (false, false, true, false, true, false, true,
-                      false)), (String ((Ascii (true, false, false, true,
-                      false, true, true, false)), (String ((Ascii (true,
-                      false, true, true, false, true, true, false)), (String
-                      ((Ascii (true, false, true, false, false, true, true,
-                      false)), EmptyString))))))))))))))))))))))))))))))))))))
-                 then Some (if valid_time s then s else [])
-                 else if eqb1 fn (String ((Ascii (false, true, true, false,
-                           true, true, true, false)), (String ((Ascii (true,
-                           false, false, false, false, true, true, false)),
-                           (String ((Ascii (false, false, true, true, false,
-                           true, true, false)), (String ((Ascii (true, false,
-                           false, true, false, true, true, false)), (String
-                           ((Ascii (false, false, true, false, false, true,
-                           true, false)), (String ((Ascii (true, false,
-                           false, false, false, true, true, false)), (String
-                           ((Ascii (false, false, true, false, true, true,
-                           true, false)), (String ((Ascii (true, false, true,
-                           false, false, true, true, false)), (String ((Ascii
-                           (true, true, false, false, true, false, true,
-                           false)), (String ((Ascii (true, false, true,
-                           false, false, true, true, false)), (String ((Ascii
-                           (false, false, true, false, true, true, true,
-                           false)), (String ((Ascii (false, false, true,
-                           false, true, true, true, false)), (String ((Ascii
-                           (false, false, true, true, false, true, true,
-                           false)), (String ((Ascii (true, false, true,
-                           false, false, true, true, false)), (String ((Ascii
-                           (true, false, true, true, false, true, true,
-                           false)), (String ((Ascii (true, false, true,
-                           false, false, true, true, false)), (String ((Ascii
-                           (false, true, true, true, false, true, true,
-                           false)), (String ((Ascii (false, false, true,
-                           false, true, true, true, false)), (String ((Ascii
-                           (false, false, true, false, false, false, true,
-                           false)), (String ((Ascii (true, false, false,
-                           false, false, true, true, false)), (String ((Ascii
-                           (false, false, true, false, true, true, true,
-                           false)), (String ((Ascii (true, false, true,
-                           false, false, true, true, false)),
-                           EmptyString))))))))))))))))))))))))))))))))))))))))))))
-                      then Some (validateSettlementDate s)
-                      else None
-
-(** val conv_chain : string list -> bytes -> bytes option **)
-
-let rec conv_chain chain s =
-  match chain with
-  | [] -> Some s
-  | fn :: rest ->
-    (match conv_chain rest s with
-     | Some s' -> conv_str fn s'
-     | None -> None)
-
-(** val conv_value : string list -> bytes -> value option **)
-
-let conv_value chain s =
-  match chain with
-  | [] -> Some (VS s)
-  | fn :: rest ->
-    if eqb1 fn (String ((Ascii (false, false, false, false, true, true, true,
-         false)), (String ((Ascii (true, false, false, false, false, true,
-         true, false)), (String ((Ascii (false, true, false, false, true,
-         true, true, false)), (String ((Ascii (true, true, false, false,
-         true, true, true, false)), (String ((Ascii (true, false, true,
-         false, false, true, true, false)), (String ((Ascii (false, true,
-         true, true, false, false, true, false)), (String ((Ascii (true,
-         false, true, false, true, true, true, false)), (String ((Ascii
-         (true, false, true, true, false, true, true, false)), (String
-         ((Ascii (false, true, true, false, false, false, true, false)),
-         (String ((Ascii (true, false, false, true, false, true, true,
-         false)), (String ((Ascii (true, false, true, false, false, true,
-         true, false)), (String ((Ascii (false, false, true, true, false,
-         true, true, false)), (String ((Ascii (false, false, true, false,
-         false, true, true, false)), EmptyString))))))))))))))))))))))))))
-    then (match conv_chain rest s with
-          | Some s' -> Some (VI (parseNumField s'))
-          | None -> None)
-    else (match conv_chain chain s with
-          | Some s' -> Some (VS s')
-          | None -> None)
-
-(** val parse_cut : bytes list -> cut -> (string * value) list **)
-
-let parse_cut us c =
-  match c.c_const with
-  | Some bs -> (c.c_field, (VS bs)) :: []
-  | None ->
-    if eqb1 c.c_field EmptyString
-    then []
-    else (match conv_value c.c_conv (sub0 us c.c_lo c.c_hi) with
-          | Some v -> (c.c_field, v) :: []
-          | None -> [])
-
-(** val parse : layout -> bytes -> recval **)
-
-let parse l line =
-  if Nat.eqb (rune_count line) (S (S (S (S (S (S (S (S (S (S (S (S (S (S (S
-       (S (S (S (S (S (S (S (S (S (S (S (S (S (S (S (S (S (S (S (S (S (S (S
-       (S (S (S (S (S (S (S (S (S (S (S (S (S (S (S (S (S (S (S (S (S (S (S
-       (S (S (S (S (S (S (S (S (S (S (S (S (S (S (S (S (S (S (S (S (S (S (S
-       (S (S (S (S (S (S (S (S (S (S
-       O))))))))))))))))))))))))))))))))))))))))))))))))))))))))))))))))))))))))))))))))))))))))))))))
-  then flat_map (parse_cut (units l.l_ix line)) l.l_cuts
-  else []
-
-(** val overlay : recval -> recval -> recval **)
-
-let overlay new0 old =
-  app (rev new0) old
-
-(** val l_ADVBatchControl : layout **)
-
-let l_ADVBatchControl =
-  { l_name = (String ((Ascii (true, false, false, false, false, false, true,
-    false)), (String ((Ascii (false, false, true, false, false, false, true,
-    false)), (String ((Ascii (false, true, true, false, true, false, true,
-    false)), (String ((Ascii (false, true, false, false, false, false, true,
-    false)), (String ((Ascii (true, false, false, false, false, true, true,
-    false)), (String ((Ascii (false, false, true, false, true, true, true,
-    false)), (String ((Ascii (true, true, false, false, false, true, true,
-    false)), (String ((Ascii (false, false, false, true, false, true, true,
-    false)), (String ((Ascii (true, true, false, false, false, false, true,
-    false)), (String ((Ascii (true, true, true, true, false, true, true,
-    false)), (String ((Ascii (false, true, true, true, false, true, true,
-    false)), (String ((Ascii (false, false, true, false, true, true, true,
-    false)), (String ((Ascii (false, true, false, false, true, true, true,
-    false)), (String ((Ascii (true, true, true, true, false, true, true,
-    false)), (String ((Ascii (false, false, true, true, false, true, true,
-    false)), EmptyString)))))))))))))))))))))))))))))); l_ix = IRune;
-    l_segs = ((SLit ((Npos (XO (XO (XO (XI (XI XH)))))) :: [])) :: ((SItoa
-    (String ((Ascii (true, true, false, false, true, false, true, false)),
-    (String ((Ascii (true, false, true, false, false, true, true, false)),
-    (String ((Ascii (false, true, false, false, true, true, true, false)),
-    (String ((Ascii (false, true, true, false, true, true, true, false)),
-    (String ((Ascii (true, false, false, true, false, true, true, false)),
-    (String ((Ascii (true, true, false, false, false, true, true, false)),
-    (String ((Ascii (true, false, true, false, false, true, true, false)),
-    (String ((Ascii (true, true, false, false, false, false, true, false)),
-    (String ((Ascii (false, false, true, true, false, true, true, false)),
-    (String ((Ascii (true, false, false, false, false, true, true, false)),
-    (String ((Ascii (true, true, false, false, true, true, true, false)),
-    (String ((Ascii (true, true, false, false, true, true, true, false)),
-    (String ((Ascii (true, true, false, false, false, false, true, false)),
-    (String ((Ascii (true, true, true, true, false, true, true, false)),
-    (String ((Ascii (false, false, true, false, false, true, true, false)),
-    (String ((Ascii (true, false, true, false, false, true, true, false)),
-    EmptyString))))))))))))))))))))))))))))))))) :: ((SNum ((String ((Ascii
-    (true, false, true, false, false, false, true, false)), (String ((Ascii
-    (false, true, true, true, false, true, true, false)), (String ((Ascii
-    (false, false, true, false, true, true, true, false)), (String ((Ascii
-    (false, true, false, false, true, true, true, false)), (String ((Ascii
-    (true, false, false, true, true, true, true, false)), (String ((Ascii
-    (true, false, false, false, false, false, true, false)), (String ((Ascii
-    (false, false, true, false, false, true, true, false)), (String ((Ascii
-    (false, false, true, false, false, true, true, false)), (String ((Ascii
-    (true, false, true, false, false, true, true, false)), (String ((Ascii
-    (false, true, true, true, false, true, true, false)), (String ((Ascii
-    (false, false, true, false, false, true, true, false)), (String ((Ascii
-    (true, false, false, false, false, true, true, false)), (String ((Ascii
-    (true, true, false, false, false, false, true, false)), (String ((Ascii
-    (true, true, true, true, false, true, true, false)), (String ((Ascii
-    (true, false, true, false, true, true, true, false)), (String ((Ascii
-    (false, true, true, true, false, true, true, false)), (String ((Ascii
-    (false, false, true, false, true, true, true, false)),
-    EmptyString)))))))))))))))))))))))))))))))))), (S (S (S (S (S (S
-    O)))))))) :: ((SNum ((String ((Ascii (true, false, true, false, false,
-    false, true, false)), (String ((Ascii (false, true, true, true, false,
-    true, true, false)), (String ((Ascii (false, false, true, false, true,
-    true, true, false)), (String ((Ascii (false, true, false, false, true,
-    true, true, false)), (String ((Ascii (true, false, false, true, true,
-    true, true, false)), (String ((Ascii (false, false, false, true, false,
-    false, true, false)), (String ((Ascii (true, false, false, false, false,
-    true, true, false)), (String ((Ascii (true, true, false, false, true,
-    true, true, false)), (String ((Ascii (false, false, false, true, false,
-    true, true, false)), EmptyString)))))))))))))))))), (S (S (S (S (S (S (S
-    (S (S (S O)))))))))))) :: ((SNum ((String ((Ascii (false, false, true,
-    false, true, false, true, false)), (String ((Ascii (true, true, true,
-    true, false, true, true, false)), (String ((Ascii (false, false, true,
-    false, true, true, true, false)), (String ((Ascii (true, false, false,
-    false, false, true, true, false)), (String ((Ascii (false, false, true,
-    true, false, true, true, false)), (String ((Ascii (false, false, true,
-    false, false, false, true, false)), (String ((Ascii (true, false, true,
-    false, false, true, true, false)), (String ((Ascii (false, true, false,
-    false, false, true, true, false)), (String ((Ascii (true, false, false,
-    true, false, true, true, false)), (String ((Ascii (false, false, true,
-    false, true, true, true, false)), (String ((Ascii (true, false, true,
-    false, false, false, true, false)), (String ((Ascii (false, true, true,
-    true, false, true, true, false)), (String ((Ascii (false, false, true,
-    false, true, true, true, false)), (String ((Ascii (false, true, false,
-    false, true, true, true, false)), (String ((Ascii (true, false, false,
-    true, true, true, true, false)), (String ((Ascii (false, false, true,
-    false, false, false, true, false)), (String ((Ascii (true, true, true,
-    true, false, true, true, false)), (String ((Ascii (false, false, true,
-    true, false, true, true, false)), (String ((Ascii (false, false, true,
-    true, false, true, true, false)), (String ((Ascii (true, false, false,
-    false, false, true, true, false)), (String ((Ascii (false, true, false,
-    false, true, true, true, false)), (String ((Ascii (true, false, false,
-    false, false, false, true, false)), (String ((Ascii (true, false, true,
-    true, false, true, true, false)), (String ((Ascii (true, true, true,
-    true, false, true, true, false)), (String ((Ascii (true, false, true,
-    false, true, true, true, false)), (String ((Ascii (false, true, true,
-    true, false, true, true, false)), (String ((Ascii (false, false, true,
-    false, true, true, true, false)),
-    EmptyString)))))))))))))))))))))))))))))))))))))))))))))))))))))), (S (S
-    (S (S (S (S (S (S (S (S (S (S (S (S (S (S (S (S (S (S
-    O)))))))))))))))))))))) :: ((SNum ((String ((Ascii (false, false, true,
-    false, true, false, true, false)), (String ((Ascii (true, true, true,
-    true, false, true, true, false)), (String ((Ascii (false, false, true,
-    false, true, true, true, false)), (String ((Ascii (true, false, false,
-    false, false, true, true, false)), (String ((Ascii (false, false, true,
-    true, false, true, true, false)), (String ((Ascii (true, true, false,
-    false, false, false, true, false)), (String ((Ascii (false, true, false,
-    false, true, true, true, false)), (String ((Ascii (true, false, true,
-    false, false, true, true, false)), (String ((Ascii (false, false, true,
-    false, false, true, true, false)), (String ((Ascii (true, false, false,
-    true, false, true, true, false)), (String ((Ascii (false, false, true,
-    false, true, true, true, false)), (String ((Ascii (true, false, true,
-    false, false, false, true, false)), (String ((Ascii (false, true, true,
-    true, false, true, true, false)), (String ((Ascii (false, false, true,
-    false, true, true, true, false)), (String ((Ascii (false, true, false,
-    false, true, true, true, false)), (String ((Ascii (true, false, false,
-    true, true, true, true, false)), (String ((Ascii (false, false, true,
-    false, false, false, true, false)), (String ((Ascii (true, true, true,
-    true, false, true, true, false)), (String ((Ascii (false, false, true,
-    true, false, true, true, false)), (String ((Ascii (false, false, true,
-    true, false, true, true, false)), (String ((Ascii (true, false, false,
-    false, false, true, true, false)), (String ((Ascii (false, true, false,
-    false, true, true, true, false)), (String ((Ascii (true, false, false,
-    false, false, false, true, false)), (String ((Ascii (true, false, true,
-    true, false, true, true, false)), (String ((Ascii (true, true, true,
-    true, false, true, true, false)), (String ((Ascii (true, false, true,
-    false, true, true, true, false)), (String ((Ascii (false, true, true,
-    true, false, true, true, false)), (String ((Ascii (false, false, true,
-    false, true, true, true, false)),
-    EmptyString)))))))))))))))))))))))))))))))))))))))))))))))))))))))), (S
-    (S (S (S (S (S (S (S (S (S (S (S (S (S (S (S (S (S (S (S
-    O)))))))))))))))))))))) :: ((SAlpha ((String ((Ascii (true, false, false,
-    false, false, false, true, false)), (String ((Ascii (true, true, false,
-    false, false, false, true, false)), (String ((Ascii (false, false, false,
-    true, false, false, true, false)), (String ((Ascii (true, true, true,
-    true, false, false, true, false)), (String ((Ascii (false, false, false,
-    false, true, true, true, false)), (String ((Ascii (true, false, true,
-    false, false, true, true, false)), (String ((Ascii (false, true, false,
-    false, true, true, true, false)), (String ((Ascii (true, false, false,
-    false, false, true, true, false)), (String ((Ascii (false, false, true,
-    false, true, true, true, false)), (String ((Ascii (true, true, true,
-    true, false, true, true, false)), (String ((Ascii (false, true, false,
-    false, true, true, true, false)), (String ((Ascii (false, false, true,
-    false, false, false, true, false)), (String ((Ascii (true, false, false,
-    false, false, true, true, false)), (String ((Ascii (false, false, true,
-    false, true, true, true, false)), (String ((Ascii (true, false, false,
-    false, false, true, true, false)),
-    EmptyString)))))))))))))))))))))))))))))), (S (S (S (S (S (S (S (S (S (S
-    (S (S (S (S (S (S (S (S (S O))))))))))))))))))))) :: ((SStr ((String
-    ((Ascii (true, true, true, true, false, false, true, false)), (String
-    ((Ascii (false, false, true, false, false, false, true, false)), (String
-    ((Ascii (false, true, true, false, false, false, true, false)), (String
-    ((Ascii (true, false, false, true, false, false, true, false)), (String
-    ((Ascii (true, false, false, true, false, false, true, false)), (String
-    ((Ascii (false, false, true, false, false, true, true, false)), (String
-    ((Ascii (true, false, true, false, false, true, true, false)), (String
-    ((Ascii (false, true, true, true, false, true, true, false)), (String
-    ((Ascii (false, false, true, false, true, true, true, false)), (String
-    ((Ascii (true, false, false, true, false, true, true, false)), (String
-    ((Ascii (false, true, true, false, false, true, true, false)), (String
-    ((Ascii (true, false, false, true, false, true, true, false)), (String
-    ((Ascii (true, true, false, false, false, true, true, false)), (String
-    ((Ascii (true, false, false, false, false, true, true, false)), (String
-    ((Ascii (false, false, true, false, true, true, true, false)), (String
-    ((Ascii (true, false, false, true, false, true, true, false)), (String
-    ((Ascii (true, true, true, true, false, true, true, false)), (String
-    ((Ascii (false, true, true, true, false, true, true, false)),
-    EmptyString)))))))))))))))))))))))))))))))))))), (S (S (S (S (S (S (S (S
-    O)))))))))) :: ((SNum ((String ((Ascii (false, true, false, false, false,
-    false, true, false)), (String ((Ascii (true, false, false, false, false,
-    true, true, false)), (String ((Ascii (false, false, true, false, true,
-    true, true, false)), (String ((Ascii (true, true, false, false, false,
-    true, true, false)), (String ((Ascii (false, false, false, true, false,
-    true, true, false)), (String ((Ascii (false, true, true, true, false,
-    false, true, false)), (String ((Ascii (true, false, true, false, true,
-    true, true, false)), (String ((Ascii (true, false, true, true, false,
-    true, true, false)), (String ((Ascii (false, true, false, false, false,
-    true, true, false)), (String ((Ascii (true, false, true, false, false,
-    true, true, false)), (String ((Ascii (false, true, false, false, true,
-    true, true, false)), EmptyString)))))))))))))))))))))), (S (S (S (S (S (S
-    (S O))))))))) :: []))))))))); l_cuts =
-    ((mkcut O (S O) EmptyString []) :: ((mkcut (S O) (S (S (S (S O))))
-                                          (String ((Ascii (true, true, false,
-                                          false, true, false, true, false)),
-                                          (String ((Ascii (true, false, true,
-                                          false, false, true, true, false)),
-                                          (String ((Ascii (false, true,
-                                          false, false, true, true, true,
-                                          false)), (String ((Ascii (false,
-                                          true, true, false, true, true,
-                                          true, false)), (String ((Ascii
-                                          (true, false, false, true, false,
-                                          true, true, false)), (String
-                                          ((Ascii (true, true, false, false,
-                                          false, true, true, false)), (String
-                                          ((Ascii (true, false, true, false,
-                                          false, true, true, false)), (String
-                                          ((Ascii (true, true, false, false,
-                                          false, false, true, false)),
-                                          (String ((Ascii (false, false,
-                                          true, true, false, true, true,
-                                          false)), (String ((Ascii (true,
-                                          false, false, false, false, true,
-                                          true, false)), (String ((Ascii
-                                          (true, true, false, false, true,
-                                          true, true, false)), (String
-                                          ((Ascii (true, true, false, false,
-                                          true, true, true, false)), (String
-                                          ((Ascii (true, true, false, false,
-                                          false, false, true, false)),
-                                          (String ((Ascii (true, true, true,
-                                          true, false, true, true, false)),
-                                          (String ((Ascii (false, false,
-                                          true, false, false, true, true,
-                                          false)), (String ((Ascii (true,
-                                          false, true, false, false, true,
-                                          true, false)),
-                                          EmptyString))))))))))))))))))))))))))))))))
-                                          ((String ((Ascii (false, false,
-                                          false, false, true, true, true,
-                                          false)), (String ((Ascii (true,
-                                          false, false, false, false, true,
-                                          true, false)), (String ((Ascii
-                                          (false, true, false, false, true,
-                                          true, true, false)), (String
-                                          ((Ascii (true, true, false, false,
-                                          true, true, true, false)), (String
-                                          ((Ascii (true, false, true, false,
-                                          false, true, true, false)), (String
-                                          ((Ascii (false, true, true, true,
-                                          false, false, true, false)),
-                                          (String ((Ascii (true, false, true,
-                                          false, true, true, true, false)),
-                                          (String ((Ascii (true, false, true,
-                                          true, false, true, true, false)),
-                                          (String ((Ascii (false, true, true,
-                                          false, false, false, true, false)),
-                                          (String ((Ascii (true, false,
-                                          false, true, false, true, true,
-                                          false)), (String ((Ascii (true,
-                                          false, true, false, false, true,
-                                          true, false)), (String ((Ascii
-                                          (false, false, true, true, false,
-                                          true, true, false)), (String
-                                          ((Ascii (false, false, true, false,
-                                          false, true, true, false)),
-                                          EmptyString)))))))))))))))))))))))))) :: [])) :: (
-    (mkcut (S (S (S (S O)))) (S (S (S (S (S (S (S (S (S (S O))))))))))
-      (String ((Ascii (true, false, true, false, false, false, true, false)),
-      (String ((Ascii (false, true, true, true, false, true, true, false)),
-      (String ((Ascii (false, false, true, false, true, true, true, false)),
-      (String ((Ascii (false, true, false, false, true, true, true, false)),
-      (String ((Ascii (true, false, false, true, true, true, true, false)),
-      (String ((Ascii (true, false, false, false, false, false, true,
-      false)), (String ((Ascii (false, false, true, false, false, true, true,
-      false)), (String ((Ascii (false, false, true, false, false, true, true,
-      false)), (String ((Ascii (true, false, true, false, false, true, true,
-      false)), (String ((Ascii (false, true, true, true, false, true, true,
-      false)), (String ((Ascii (false, false, true, false, false, true, true,
-      false)), (String ((Ascii (true, false, false, false, false, true, true,
-      false)), (String ((Ascii (true, true, false, false, false, false, true,
-      false)), (String ((Ascii (true, true, true, true, false, true, true,
-      false)), (String ((Ascii (true, false, true, false, true, true, true,
-      false)), (String ((Ascii (false, true, true, true, false, true, true,
-      false)), (String ((Ascii (false, false, true, false, true, true, true,
-      false)), EmptyString)))))))))))))))))))))))))))))))))) ((String ((Ascii
-      (false, false, false, false, true, true, true, false)), (String ((Ascii
-      (true, false, false, false, false, true, true, false)), (String ((Ascii
-      (false, true, false, false, true, true, true, false)), (String ((Ascii
-      (true, true, false, false, true, true, true, false)), (String ((Ascii
-      (true, false, true, false, false, true, true, false)), (String ((Ascii
-      (false, true, true, true, false, false, true, false)), (String ((Ascii
-      (true, false, true, false, true, true, true, false)), (String ((Ascii
-      (true, false, true, true, false, true, true, false)), (String ((Ascii
-      (false, true, true, false, false, false, true, false)), (String ((Ascii
-      (true, false, false, true, false, true, true, false)), (String ((Ascii
-      (true, false, true, false, false, true, true, false)), (String ((Ascii
-      (false, false, true, true, false, true, true, false)), (String ((Ascii
-      (false, false, true, false, false, true, true, false)),
-      EmptyString)))))))))))))))))))))))))) :: [])) :: ((mkcut (S (S (S (S (S
-                                                          (S (S (S (S (S
-                                                          O)))))))))) (S (S
-                                                          (S (S (S (S (S (S
-                                                          (S (S (S (S (S (S
-                                                          (S (S (S (S (S (S
-                                                          O))))))))))))))))))))
-                                                          (String ((Ascii
-                                                          (true, false, true,
-                                                          false, false,
-                                                          false, true,
-                                                          false)), (String
-                                                          ((Ascii (false,
-                                                          true, true, true,
-                                                          false, true, true,
-                                                          false)), (String
-                                                          ((Ascii (false,
-                                                          false, true, false,
-                                                          true, true, true,
-                                                          false)), (String
-                                                          ((Ascii (false,
-                                                          true, false, false,
-                                                          true, true, true,
-                                                          false)), (String
-                                                          ((Ascii (true,
-                                                          false, false, true,
-                                                          true, true, true,
-                                                          false)), (String
-                                                          ((Ascii (false,
-                                                          false, false, true,
-                                                          false, false, true,
-                                                          false)), (String
-                                                          ((Ascii (true,
-                                                          false, false,
-                                                          false, false, true,
-                                                          true, false)),
-                                                          (String ((Ascii
-                                                          (true, true, false,
-                                                          false, true, true,
-                                                          true, false)),
-                                                          (String ((Ascii
-                                                          (false, false,
-                                                          false, true, false,
-                                                          true, true,
-                                                          false)),
-                                                          EmptyString))))))))))))))))))
-                                                          ((String ((Ascii
-                                                          (false, false,
-                                                          false, false, true,
-                                                          true, true,
-                                                          false)), (String
-                                                          ((Ascii (true,
-                                                          false, false,
-                                                          false, false, true,
-                                                          true, false)),
-                                                          (String ((Ascii
-                                                          (false, true,
-                                                          false, false, true,
-                                                          true, true,
-                                                          false)), (String
-                                                          ((Ascii (true,
-                                                          true, false, false,
-                                                          true, true, true,
-                                                          false)), (String
-                                                          ((Ascii (true,
-                                                          false, true, false,
-                                                          false, true, true,
-                                                          false)), (String
-                                                          ((Ascii (false,
-                                                          true, true, true,
-                                                          false, false, true,
-                                                          false)), (String
-                                                          ((Ascii (true,
-                                                          false, true, false,
-                                                          true, true, true,
-                                                          false)), (String
-                                                          ((Ascii (true,
-                                                          false, true, true,
-                                                          false, true, true,
-                                                          false)), (String
-                                                          ((Ascii (false,
-                                                          true, true, false,
-                                                          false, false, true,
-                                                          false)), (String
-                                                          ((Ascii (true,
-                                                          false, false, true,
-                                                          false, true, true,
-                                                          false)), (String
-                                                          ((Ascii (true,
-                                                          false, true, false,
-                                                          false, true, true,
-                                                          false)), (String
-                                                          ((Ascii (false,
-                                                          false, true, true,
-                                                          false, true, true,
-                                                          false)), (String
-                                                          ((Ascii (false,
-                                                          false, true, false,
-                                                          false, true, true,
-                                                          false)),
-                                                          EmptyString)))))))))))))))))))))))))) :: [])) :: (
-    (mkcut (S (S (S (S (S (S (S (S (S (S (S (S (S (S (S (S (S (S (S (S
-      O)))))))))))))))))))) (S (S (S (S (S (S (S (S (S (S (S (S (S (S (S (S
-      (S (S (S (S (S (S (S (S (S (S (S (S (S (S (S (S (S (S (S (S (S (S (S (S
-      O)))))))))))))))))))))))))))))))))))))))) (String ((Ascii (false,
-      false, true, false, true, false, true, false)), (String ((Ascii (true,
-      true, true, true, false, true, true, false)), (String ((Ascii (false,
-      false, true, false, true, true, true, false)), (String ((Ascii (true,
-      false, false, false, false, true, true, false)), (String ((Ascii
-      (false, false, true, true, false, true, true, false)), (String ((Ascii
-      (false, false, true, false, false, false, true, false)), (String
-      ((Ascii (true, false, true, false, false, true, true, false)), (String
-      ((Ascii (false, true, false, false, false, true, true, false)), (String
-      ((Ascii (true, false, false, true, false, true, true, false)), (String
-      ((Ascii (false, false, true, false, true, true, true, false)), (String
-      ((Ascii (true, false, true, false, false, false, true, false)), (String
-      ((Ascii (false, true, true, true, false, true, true, false)), (String
-      ((Ascii (false, false, true, false, true, true, true, false)), (String
-      ((Ascii (false, true, false, false, true, true, true, false)), (String
-      ((Ascii (true, false, false, true, true, true, true, false)), (String
-      ((Ascii (false, false, true, false, false, false, true, false)),
-      (String ((Ascii (true, true, true, true, false, true, true, false)),
-      (String ((Ascii (false, false, true, true, false, true, true, false)),
-      (String ((Ascii (false, false, true, true, false, true, true, false)),
-      (String ((Ascii (true, false, false, false, false, true, true, false)),
-      (String ((Ascii (false, true, false, false, true, true, true, false)),
-      (String ((Ascii (true, false, false, false, false, false, true,
-      false)), (String ((Ascii (true, false, true, true, false, true, true,
-      false)), (String ((Ascii (true, true, true, true, false, true, true,
-      false)), (String ((Ascii (true, false, true, false, true, true, true,
-      false)), (String ((Ascii (false, true, true, true, false, true, true,
-      false)), (String ((Ascii (false, false, true, false, true, true, true,
-      false)),
-      EmptyString))))))))))))))))))))))))))))))))))))))))))))))))))))))
-      ((String ((Ascii (false, false, false, false, true, true, true,
-      false)), (String ((Ascii (true, false, false, false, false, true, true,
-      false)), (String ((Ascii (false, true, false, false, true, true, true,
-      false)), (String ((Ascii (true, true, false, false, true, true, true,
-      false)), (String ((Ascii (true, false, true, false, false, true, true,
-      false)), (String ((Ascii (false, true, true, true, false, false, true,
-      false)), (String ((Ascii (true, false, true, false, true, true, true,
-      false)), (String ((Ascii (true, false, true, true, false, true, true,
-      false)), (String ((Ascii (false, true, true, false, false, false, true,
-      false)), (String ((Ascii (true, false, false, true, false, true, true,
-      false)), (String ((Ascii (true, false, true, false, false, true, true,
-      false)), (String ((Ascii (false, false, true, true, false, true, true,
-      false)), (String ((Ascii (false, false, true, false, false, true, true,
-      false)), EmptyString)))))))))))))))))))))))))) :: [])) :: ((mkcut (S (S
-                                                                   (S (S (S
-                                                                   (S (S (S
-                                                                   (S (S (S
-                                                                   (S (S (S
-                                                                   (S (S (S
-                                                                   (S (S (S
-                                                                   (S (S (S
-                                                                   (S (S (S
-                                                                   (S (S (S
-                                                                   (S (S (S
-                                                                   (S (S (S
-                                                                   (S (S (S
-                                                                   (S (S
-                                                                   O))))))))))))))))))))))))))))))))))))))))
-                                                                   (S (S (S
-                                                                   (S (S (S
-                                                                   (S (S (S
-                                                                   (S (S (S
-                                                                   (S (S (S
-                                                                   (S (S (S
-                                                                   (S (S (S
-                                                                   (S (S (S
-                                                                   (S (S (S
-                                                                   (S (S (S
-                                                                   (S (S (S
-                                                                   (S (S (S
-                                                                   (S (S (S
-                                                                   (S (S (S
-                                                                   (S (S (S
-                                                                   (S (S (S
-                                                                   (S (S (S
-                                                                   (S (S (S
-                                                                   (S (S (S
-                                                                   (S (S (S
-                                                                   O))))))))))))))))))))))))))))))))))))))))))))))))))))))))))))
-                                                                   (String
-                                                                   ((Ascii
-                                                                   (false,
-                                                                   false,
-                                                                   true,
-                                                                   false,
-                                                                   true,
-                                                                   false,
-                                                                   true,
-                                                                   false)),
-                                                                   (String
-                                                                   ((Ascii
-                                                                   (true,
-                                                                   true,
-                                                                   true,
-                                                                   true,
-                                                                   false,
-                                                                   true,
-                                                                   true,
-                                                                   false)),
-                                                                   (String
-                                                                   ((Ascii
-                                                                   (false,
-                                                                   false,
-                                                                   true,
-                                                                   false,
-                                                                   true,
-                                                                   true,
-                                                                   true,
-                                                                   false)),
-                                                                   (String
-                                                                   ((Ascii
-                                                                   (true,
-                                                                   false,
-                                                                   false,
-                                                                   false,
-                                                                   false,
-                                                                   true,
-                                                                   true,
-                                                                   false)),
-                                                                   (String
-                                                                   ((Ascii
-                                                                   (false,
-                                                                   false,
-                                                                   true,
-                                                                   true,
-                                                                   false,
-                                                                   true,
-                                                                   true,
-                                                                   false)),
-                                                                   (String
-                                                                   ((Ascii
-                                                                   (true,
-                                                                   true,
-                                                                   false,
-                                                                   false,
-                                                                   false,
-                                                                   false,
-                                                                   true,
-                                                                   false)),
-                                                                   (String
-                                                                   ((Ascii
-                                                                   (false,
-                                                                   true,
-                                                                   false,
-                                                                   false,
-                                                                   true,
-                                                                   true,
-                                                                   true,
-                                                                   false)),
-                                                                   (String
-                                                                   ((Ascii
-                                                                   (true,
-                                                                   false,
-                                                                   true,
-                                                                   false,
-                                                                   false,
-                                                                   true,
-                                                                   true,
-                                                                   false)),
-                                                                   (String
-                                                                   ((Ascii
-                                                                   (false,
-                                                                   false,
-                                                                   true,
-                                                                   false,
-                                                                   false,
-                                                                   true,
-                                                                   true,
-                                                                   false)),
-                                                                   (String
-                                                                   ((Ascii
-                                                                   (true,
-                                                                   false,
-                                                                   false,
-                                                                   true,
-                                                                   false,
-                                                                   true,
-                                                                   true,
-                                                                   false)),
-                                                                   (String
-                                                                   ((Ascii
-                                                                   (false,
-                                                                   false,
-                                                                   true,
-                                                                   false,
-                                                                   true,
-                                                                   true,
-                                                                   true,
-                                                                   false)),
-                                                                   (String
-                                                                   ((Ascii
-                                                                   (true,
-                                                                   false,
-                                                                   true,
-                                                                   false,
-                                                                   false,
-                                                                   false,
-                                                                   true,
-                                                                   false)),
-                                                                   (String
-                                                                   ((Ascii
-                                                                   (false,
-                                                                   true,
-                                                                   true,
-                                                                   true,
-                                                                   false,
-                                                                   true,
-                                                                   true,
-                                                                   false)),
-                                                                   (String
-                                                                   ((Ascii
-                                                                   (false,
-                                                                   false,
-                                                                   true,
-                                                                   false,
-                                                                   true,
-                                                                   true,
-                                                                   true,
-                                                                   false)),
-                                                                   (String
-                                                                   ((Ascii
-                                                                   (false,
-                                                                   true,
-                                                                   false,
-                                                                   false,
-                                                                   true,
-                                                                   true,
-                                                                   true,
-                                                                   false)),
-                                                                   (String
-                                                                   ((Ascii
-                                                                   (true,
-                                                                   false,
-                                                                   false,
-                                                                   true,
-                                                                   true,
-                                                                   true,
-                                                                   true,
-                                                                   false)),
-                                                                   (String
-                                                                   ((Ascii
-                                                                   (false,
-                                                                   false,
-                                                                   true,
-                                                                   false,
-                                                                   false,
-                                                                   false,
-                                                                   true,
-                                                                   false)),
-                                                                   (String
-                                                                   ((Ascii
-                                                                   (true,
-                                                                   true,
-                                                                   true,
-                                                                   true,
-                                                                   false,
-                                                                   true,
-                                                                   true,
-                                                                   false)),
-                                                                   (String
-                                                                   ((Ascii
-                                                                   (false,
-                                                                   false,
-                                                                   true,
-                                                                   true,
-                                                                   false,
-                                                                   true,
-                                                                   true,
-                                                                   false)),
-                                                                   (String
-                                                                   ((Ascii
-                                                                   (false,
-                                                                   false,
-                                                                   true,
-                                                                   true,
-                                                                   false,
-                                                                   true,
-                                                                   true,
-                                                                   false)),
-                                                                   (String
-                                                                   ((Ascii
-                                                                   (true,
-                                                                   false,
-                                                                   false,
-                                                                   false,
-                                                                   false,
-                                                                   true,
-                                                                   true,
-                                                                   false)),
-                                                                   (String
-                                                                   ((Ascii
-                                                                   (false,
-                                                                   true,
-                                                                   false,
-                                                                   false,
-                                                                   true,
-                                                                   true,
-                                                                   true,
-                                                                   false)),
-                                                                   (String
-                                                                   ((Ascii
-                                                                   (true,
-                                                                   false,
-                                                                   false,
-                                                                   false,
-                                                                   false,
-                                                                   false,
-                                                                   true,
-                                                                   false)),
-                                                                   (String
-                                                                   ((Ascii
-                                                                   (true,
-                                                                   false,
-                                                                   true,
-                                                                   true,
-                                                                   false,
-                                                                   true,
-                                                                   true,
-                                                                   false)),
-                                                                   (String
-                                                                   ((Ascii
-                                                                   (true,
-                                                                   true,
-                                                                   true,
-                                                                   true,
-                                                                   false,
-                                                                   true,
-                                                                   true,
-                                                                   false)),
-                                                                   (String
-                                                                   ((Ascii
-                                                                   (true,
-                                                                   false,
-                                                                   true,
-                                                                   false,
-                                                                   true,
-                                                                   true,
-                                                                   true,
-                                                                   false)),
-                                                                   (String
-                                                                   ((Ascii
-                                                                   (false,
-                                                                   true,
-                                                                   true,
-                                                                   true,
-                                                                   false,
-                                                                   true,
-                                                                   true,
-                                                                   false)),
-                                                                   (String
-                                                                   ((Ascii
-                                                                   (false,
-                                                                   false,
-                                                                   true,
-                                                                   false,
-                                                                   true,
-                                                                   true,
-                                                                   true,
-                                                                   false)),
-                                                                   EmptyString))))))))))))))))))))))))))))))))))))))))))))))))))))))))
-                                                                   ((String
-                                                                   ((Ascii
-                                                                   (false,
-                                                                   false,
-                                                                   false,
-                                                                   false,
-                                                                   true,
-                                                                   true,
-                                                                   true,
-                                                                   false)),
-                                                                   (String
-                                                                   ((Ascii
-                                                                   (true,
-                                                                   false,
-                                                                   false,
-                                                                   false,
-                                                                   false,
-                                                                   true,
-                                                                   true,
-                                                                   false)),
-                                                                   (String
-                                                                   ((Ascii
-                                                                   (false,
-                                                                   true,
-                                                                   false,
-                                                                   false,
-                                                                   true,
-                                                                   true,
-                                                                   true,
-                                                                   false)),
-                                                                   (String
-                                                                   ((Ascii
-                                                                   (true,
-                                                                   true,
-                                                                   false,
-                                                                   false,
-                                                                   true,
-                                                                   true,
-                                                                   true,
-                                                                   false)),
-                                                                   (String
-                                                                   ((Ascii
-                                                                   (true,
-                                                                   false,
-                                                                   true,
-                                                                   false,
-                                                                   false,
-                                                                   true,
-                                                                   true,
-                                                                   false)),
-                                                                   (String
-                                                                   ((Ascii
-                                                                   (false,
-                                                                   true,
-                                                                   true,
-                                                                   true,
-                                                                   false,
-                                                                   false,
-                                                                   true,
-                                                                   false)),
-                                                                   (String
-                                                                   ((Ascii
-                                                                   (true,
-                                                                   false,
-                                                                   true,
-                                                                   false,
-                                                                   true,
-                                                                   true,
-                                                                   true,
-                                                                   false)),
-                                                                   (String
-                                                                   ((Ascii
-                                                                   (true,
-                                                                   false,
-                                                                   true,
-                                                                   true,
-                                                                   false,
-                                                                   true,
-                                                                   true,
-                                                                   false)),
-                                                                   (String
-                                                                   ((Ascii
-                                                                   (false,
-                                                                   true,
-                                                                   true,
-                                                                   false,
-                                                                   false,
-                                                                   false,
-                                                                   true,
-                                                                   false)),
-                                                                   (String
-                                                                   ((Ascii
-                                                                   (true,
-                                                                   false,
-                                                                   false,
-                                                                   true,
-                                                                   false,
-                                                                   true,
-                                                                   true,
-                                                                   false)),
-                                                                   (String
-                                                                   ((Ascii
-                                                                   (true,
-                                                                   false,
-                                                                   true,
-                                                                   false,
-                                                                   false,
-                                                                   true,
-                                                                   true,
-                                                                   false)),
-                                                                   (String
-                                                                   ((Ascii
-                                                                   (false,
-                                                                   false,
-                                                                   true,
-                                                                   true,
-                                                                   false,
-                                                                   true,
-                                                                   true,
-                                                                   false)),
-                                                                   (String
-                                                                   ((Ascii
-                                                                   (false,
-                                                                   false,
-                                                                   true,
-                                                                   false,
-                                                                   false,
-                                                                   true,
-                                                                   true,
-                                                                   false)),
-                                                                   EmptyString)))))))))))))))))))))))))) :: [])) :: (
-    (mkcut (S (S (S (S (S (S (S (S (S (S (S (S (S (S (S (S (S (S (S (S (S (S
-      (S (S (S (S (S (S (S (S (S (S (S (S (S (S (S (S (S (S (S (S (S (S (S (S
-      (S (S (S (S (S (S (S (S (S (S (S (S (S (S
-      O)))))))))))))))))))))))))))))))))))))))))))))))))))))))))))) (S (S (S
-      (S (S (S (S (S (S (S (S (S (S (S (S (S (S (S (S (S (S (S (S (S (S (S (S
-      (S (S (S (S (S (S (S (S (S (S (S (S (S (S (S (S (S (S (S (S (S (S (S (S
-      (S (S (S (S (S (S (S (S (S (S (S (S (S (S (S (S (S (S (S (S (S (S (S (S
-      (S (S (S (S
-      O)))))))))))))))))))))))))))))))))))))))))))))))))))))))))))))))))))))))))))))))
-      (String ((Ascii (true, false, false, false, false, false, true,
-      false)), (String ((Ascii (true, true, false, false, false, false, true,
-      false)), (String ((Ascii (false, false, false, true, false, false,
-      true, false)), (String ((Ascii (true, true, true, true, false, false,
-      true, false)), (String ((Ascii (false, false, false, false, true, true,
-      true, false)), (String ((Ascii (true, false, true, false, false, true,
-      true, false)), (String ((Ascii (false, true, false, false, true, true,
-      true, false)), (String ((Ascii (true, false, false, false, false, true,
-      true, false)), (String ((Ascii (false, false, true, false, true, true,
-      true, false)), (String ((Ascii (true, true, true, true, false, true,
-      true, false)), (String ((Ascii (false, true, false, false, true, true,
-      true, false)), (String ((Ascii (false, false, true, false, false,
-      false, true, false)), (String ((Ascii (true, false, false, false,
-      false, true, true, false)), (String ((Ascii (false, false, true, false,
-      true, true, true, false)), (String ((Ascii (true, false, false, false,
-      false, true, true, false)), EmptyString))))))))))))))))))))))))))))))
-      ((String ((Ascii (true, true, false, false, true, true, true, false)),
-      (String ((Ascii (false, false, true, false, true, true, true, false)),
-      (String ((Ascii (false, true, false, false, true, true, true, false)),
-      (String ((Ascii (true, false, false, true, false, true, true, false)),
-      (String ((Ascii (false, true, true, true, false, true, true, false)),
-      (String ((Ascii (true, true, true, false, false, true, true, false)),
-      (String ((Ascii (true, true, false, false, true, true, true, false)),
-      (String ((Ascii (false, true, true, true, false, true, false, false)),
-      (String ((Ascii (false, false, true, false, true, false, true, false)),
-      (String ((Ascii (false, true, false, false, true, true, true, false)),
-      (String ((Ascii (true, false, false, true, false, true, true, false)),
-      (String ((Ascii (true, false, true, true, false, true, true, false)),
-      (String ((Ascii (true, true, false, false, true, false, true, false)),
-      (String ((Ascii (false, false, false, false, true, true, true, false)),
-      (String ((Ascii (true, false, false, false, false, true, true, false)),
-      (String ((Ascii (true, true, false, false, false, true, true, false)),
-      (String ((Ascii (true, false, true, false, false, true, true, false)),
-      EmptyString)))))))))))))))))))))))))))))))))) :: [])) :: ((mkcut (S (S
-                                                                  (S (S (S (S
-                                                                  (S (S (S (S
-                                                                  (S (S (S (S
-                                                                  (S (S (S (S
-                                                                  (S (S (S (S
-                                                                  (S (S (S (S
-                                                                  (S (S (S (S
-                                                                  (S (S (S (S
-                                                                  (S (S (S (S
-                                                                  (S (S (S (S
-                                                                  (S (S (S (S
-                                                                  (S (S (S (S
-                                                                  (S (S (S (S
-                                                                  (S (S (S (S
-                                                                  (S (S (S (S
-                                                                  (S (S (S (S
-                                                                  (S (S (S (S
-                                                                  (S (S (S (S
-                                                                  (S (S (S (S
-                                                                  (S
-                                                                  O)))))))))))))))))))))))))))))))))))))))))))))))))))))))))))))))))))))))))))))))
-                                                                  (S (S (S (S
-                                                                  (S (S (S (S
-                                                                  (S (S (S (S
-                                                                  (S (S (S (S
-                                                                  (S (S (S (S
-                                                                  (S (S (S (S
-                                                                  (S (S (S (S
-                                                                  (S (S (S (S
-                                                                  (S (S (S (S
-                                                                  (S (S (S (S
-                                                                  (S (S (S (S
-                                                                  (S (S (S (S
-                                                                  (S (S (S (S
-                                                                  (S (S (S (S
-                                                                  (S (S (S (S
-                                                                  (S (S (S (S
-                                                                  (S (S (S (S
-                                                                  (S (S (S (S
-                                                                  (S (S (S (S
-                                                                  (S (S (S (S
-                                                                  (S (S (S (S
-                                                                  (S (S (S
-                                                                  O)))))))))))))))))))))))))))))))))))))))))))))))))))))))))))))))))))))))))))))))))))))))
-                                                                  (String
-                                                                  ((Ascii
-                                                                  (true,
-                                                                  true, true,
-                                                                  true,
-                                                                  false,
-                                                                  false,
-                                                                  true,
-                                                                  false)),
-                                                                  (String
-                                                                  ((Ascii
-                                                                  (false,
-                                                                  false,
-                                                                  true,
-                                                                  false,
-                                                                  false,
-                                                                  false,
-                                                                  true,
-                                                                  false)),
-                                                                  (String
-                                                                  ((Ascii
-                                                                  (false,
-                                                                  true, true,
-                                                                  false,
-                                                                  false,
-                                                                  false,
-                                                                  true,
-                                                                  false)),
-                                                                  (String
-                                                                  ((Ascii
-                                                                  (true,
-                                                                  false,
-                                                                  false,
-                                                                  true,
-                                                                  false,
-                                                                  false,
-                                                                  true,
-                                                                  false)),
-                                                                  (String
-                                                                  ((Ascii
-                                                                  (true,
-                                                                  false,
-                                                                  false,
-                                                                  true,
-                                                                  false,
-                                                                  false,
-                                                                  true,
-                                                                  false)),
-                                                                  (String
-                                                                  ((Ascii
-                                                                  (false,
-                                                                  false,
-                                                                  true,
-                                                                  false,
-                                                                  false,
-                                                                  true, true,
-                                                                  false)),
-                                                                  (String
-                                                                  ((Ascii
-                                                                  (true,
-                                                                  false,
-                                                                  true,
-                                                                  false,
-                                                                  false,
-                                                                  true, true,
-                                                                  false)),
-                                                                  (String
-                                                                  ((Ascii
-                                                                  (false,
-                                                                  true, true,
-                                                                  true,
-                                                                  false,
-                                                                  true, true,
-                                                                  false)),
-                                                                  (String
-                                                                  ((Ascii
-                                                                  (false,
-                                                                  false,
-                                                                  true,
-                                                                  false,
-                                                                  true, true,
-                                                                  true,
-                                                                  false)),
-                                                                  (String
-                                                                  ((Ascii
-                                                                  (true,
-                                                                  false,
-                                                                  false,
-                                                                  true,
-                                                                  false,
-                                                                  true, true,
-                                                                  false)),
-                                                                  (String
-                                                                  ((Ascii
-                                                                  (false,
-                                                                  true, true,
-                                                                  false,
-                                                                  false,
-                                                                  true, true,
-                                                                  false)),
-                                                                  (String
-                                                                  ((Ascii
-                                                                  (true,
-                                                                  false,
-                                                                  false,
-                                                                  true,
-                                                                  false,
-                                                                  true, true,
-                                                                  false)),
-                                                                  (String
-                                                                  ((Ascii
-                                                                  (true,
-                                                                  true,
-                                                                  false,
-                                                                  false,
-                                                                  false,
-                                                                  true, true,
-                                                                  false)),
-                                                                  (String
-                                                                  ((Ascii
-                                                                  (true,
-                                                                  false,
-                                                                  false,
-                                                                  false,
-                                                                  false,
-                                                                  true, true,
-                                                                  false)),
-                                                                  (String
-                                                                  ((Ascii
-                                                                  (false,
-                                                                  false,
-                                                                  true,
-                                                                  false,
-                                                                  true, true,
-                                                                  true,
-                                                                  false)),
-                                                                  (String
-                                                                  ((Ascii
-                                                                  (true,
-                                                                  false,
-                                                                  false,
-                                                                  true,
-                                                                  false,
-                                                                  true, true,
-                                                                  false)),
-                                                                  (String
-                                                                  ((Ascii
-                                                                  (true,
-                                                                  true, true,
-                                                                  true,
-                                                                  false,
-                                                                  true, true,
-                                                                  false)),
-                                                                  (String
-                                                                  ((Ascii
-                                                                  (false,
-                                                                  true, true,
-                                                                  true,
-                                                                  false,
-                                                                  true, true,
-                                                                  false)),
-                                                                  EmptyString))))))))))))))))))))))))))))))))))))
-                                                                  ((String
-                                                                  ((Ascii
-                                                                  (false,
-                                                                  false,
-                                                                  false,
-                                                                  false,
-                                                                  true, true,
-                                                                  true,
-                                                                  false)),
-                                                                  (String
-                                                                  ((Ascii
-                                                                  (true,
-                                                                  false,
-                                                                  false,
-                                                                  false,
-                                                                  false,
-                                                                  true, true,
-                                                                  false)),
-                                                                  (String
-                                                                  ((Ascii
-                                                                  (false,
-                                                                  true,
-                                                                  false,
-                                                                  false,
-                                                                  true, true,
-                                                                  true,
-                                                                  false)),
-                                                                  (String
-                                                                  ((Ascii
-                                                                  (true,
-                                                                  true,
-                                                                  false,
-                                                                  false,
-                                                                  true, true,
-                                                                  true,
-                                                                  false)),
-                                                                  (String
-                                                                  ((Ascii
-                                                                  (true,
-                                                                  false,
-                                                                  true,
-                                                                  false,
-                                                                  false,
-                                                                  true, true,
-                                                                  false)),
-                                                                  (String
-                                                                  ((Ascii
-                                                                  (true,
-                                                                  true,
-                                                                  false,
-                                                                  false,
-                                                                  true,
-                                                                  false,
-                                                                  true,
-                                                                  false)),
-                                                                  (String
-                                                                  ((Ascii
-                                                                  (false,
-                                                                  false,
-                                                                  true,
-                                                                  false,
-                                                                  true, true,
-                                                                  true,
-                                                                  false)),
-                                                                  (String
-                                                                  ((Ascii
-                                                                  (false,
-                                                                  true,
-                                                                  false,
-                                                                  false,
-                                                                  true, true,
-                                                                  true,
-                                                                  false)),
-                                                                  (String
-                                                                  ((Ascii
-                                                                  (true,
-                                                                  false,
-                                                                  false,
-                                                                  true,
-                                                                  false,
-                                                                  true, true,
-                                                                  false)),
-                                                                  (String
-                                                                  ((Ascii
-                                                                  (false,
-                                                                  true, true,
-                                                                  true,
-                                                                  false,
-                                                                  true, true,
-                                                                  false)),
-                                                                  (String
-                                                                  ((Ascii
-                                                                  (true,
-                                                                  true, true,
-                                                                  false,
-                                                                  false,
-                                                                  true, true,
-                                                                  false)),
-                                                                  (String
-                                                                  ((Ascii
-                                                                  (false,
-                                                                  true, true,
-                                                                  false,
-                                                                  false,
-                                                                  false,
-                                                                  true,
-                                                                  false)),
-                                                                  (String
-                                                                  ((Ascii
-                                                                  (true,
-                                                                  false,
-                                                                  false,
-                                                                  true,
-                                                                  false,
-                                                                  true, true,
-                                                                  false)),
-                                                                  (String
-                                                                  ((Ascii
-                                                                  (true,
-                                                                  false,
-                                                                  true,
-                                                                  false,
-                                                                  false,
-                                                                  true, true,
-                                                                  false)),
-                                                                  (String
-                                                                  ((Ascii
-                                                                  (false,
-                                                                  false,
-                                                                  true, true,
-                                                                  false,
-                                                                  true, true,
-                                                                  false)),
-                                                                  (String
-                                                                  ((Ascii
-                                                                  (false,
-                                                                  false,
-                                                                  true,
-                                                                  false,
-                                                                  false,
-                                                                  true, true,
-                                                                  false)),
-                                                                  EmptyString)))))))))))))))))))))))))))))))) :: [])) :: (
-    (mkcut (S (S (S (S (S (S (S (S (S (S (S (S (S (S (S (S (S (S (S (S (S (S
-      (S (S (S (S (S (S (S (S (S (S (S (S (S (S (S (S (S (S (S (S (S (S (S (S
-      (S (S (S (S (S (S (S (S (S (S (S (S (S (S (S (S (S (S (S (S (S (S (S (S
-      (S (S (S (S (S (S (S (S (S (S (S (S (S (S (S (S (S
-      O)))))))))))))))))))))))))))))))))))))))))))))))))))))))))))))))))))))))))))))))))))))))
-      (S (S (S (S (S (S (S (S (S (S (S (S (S (S (S (S (S (S (S (S (S (S (S (S
-      (S (S (S (S (S (S (S (S (S (S (S (S (S (S (S (S (S (S (S (S (S (S (S (S
-      (S (S (S (S (S (S (S (S (S (S (S (S (S (S (S (S (S (S (S (S (S (S (S (S
-      (S (S (S (S (S (S (S (S (S (S (S (S (S (S (S (S (S (S (S (S (S (S
-      O))))))))))))))))))))))))))))))))))))))))))))))))))))))))))))))))))))))))))))))))))))))))))))))
-      (String ((Ascii (false, true, false, false, false, false, true,
-      false)), (String ((Ascii (true, false, false, false, false, true, true,
-      false)), (String ((Ascii (false, false, true, false, true, true, true,
-      false)), (String ((Ascii (true, true, false, false, false, true, true,
-      false)), (String ((Ascii (false, false, false, true, false, true, true,
-      false)), (String ((Ascii (false, true, true, true, false, false, true,
-      false)), (String ((Ascii (true, false, true, false, true, true, true,
-      false)), (String ((Ascii (true, false, true, true, false, true, true,
-      false)), (String ((Ascii (false, true, false, false, false, true, true,
-      false)), (String ((Ascii (true, false, true, false, false, true, true,
-      false)), (String ((Ascii (false, true, false, false, true, true, true,
-      false)), EmptyString)))))))))))))))))))))) ((String ((Ascii (false,
-      false, false, false, true, true, true, false)), (String ((Ascii (true,
-      false, false, false, false, true, true, false)), (String ((Ascii
-      (false, true, false, false, true, true, true, false)), (String ((Ascii
-      (true, true, false, false, true, true, true, false)), (String ((Ascii
-      (true, false, true, false, false, true, true, false)), (String ((Ascii
-      (false, true, true, true, false, false, true, false)), (String ((Ascii
-      (true, false, true, false, true, true, true, false)), (String ((Ascii
-      (true, false, true, true, false, true, true, false)), (String ((Ascii
-      (false, true, true, false, false, false, true, false)), (String ((Ascii
-      (true, false, false, true, false, true, true, false)), (String ((Ascii
-      (true, false, true, false, false, true, true, false)), (String ((Ascii
-      (false, false, true, true, false, true, true, false)), (String ((Ascii
-      (false, false, true, false, false, true, true, false)),
-      EmptyString)))))))))))))))))))))))))) :: [])) :: []))))))))) }
-
-(** val l_ADVEntryDetail : layout **)
-
-let l_ADVEntryDetail =
-  { l_name = (String ((Ascii (true, false, false, false, false, false, true,
-    false)), (String ((Ascii (false, false, true, false, false, false, true,
-    false)), (String ((Ascii (false, true, true, false, true, false, true,
-    false)), (String ((Ascii (true, false, true, false, false, false, true,
-    false)), (String ((Ascii (false, true, true, true, false, true, true,
-    false)), (String ((Ascii (false, false, true, false, true, true, true,
-    false)), (String ((Ascii (false, true, false, false, true, true, true,
-    false)), (String ((Ascii (true, false, false, true, true, true, true,
-    false)), (String ((Ascii (false, false, true, false, false, false, true,
-    false)), (String ((Ascii (true, false, true, false, false, true, true,
-    false)), (String ((Ascii (false, false, true, false, true, true, true,
-    false)), (String ((Ascii (true, false, false, false, false, true, true,
-    false)), (String ((Ascii (true, false, false, true, false, true, true,
-    false)), (String ((Ascii (false, false, true, true, false, true, true,
-    false)), EmptyString)))))))))))))))))))))))))))); l_ix = IRune; l_segs =
-    ((SLit ((Npos (XO (XI (XI (XO (XI XH)))))) :: [])) :: ((SItoa (String
-    ((Ascii (false, false, true, false, true, false, true, false)), (String
-    ((Ascii (false, true, false, false, true, true, true, false)), (String
-    ((Ascii (true, false, false, false, false, true, true, false)), (String
-    ((Ascii (false, true, true, true, false, true, true, false)), (String
-    ((Ascii (true, true, false, false, true, true, true, false)), (String
-    ((Ascii (true, false, false, false, false, true, true, false)), (String
-    ((Ascii (true, true, false, false, false, true, true, false)), (String
-    ((Ascii (false, false, true, false, true, true, true, false)), (String
-    ((Ascii (true, false, false, true, false, true, true, false)), (String
-    ((Ascii (true, true, true, true, false, true, true, false)), (String
-    ((Ascii (false, true, true, true, false, true, true, false)), (String
-    ((Ascii (true, true, false, false, false, false, true, false)), (String
-    ((Ascii (true, true, true, true, false, true, true, false)), (String
-    ((Ascii (false, false, true, false, false, true, true, false)), (String
-    ((Ascii (true, false, true, false, false, true, true, false)),
-    EmptyString))))))))))))))))))))))))))))))) :: ((SStr ((String ((Ascii
-    (false, true, false, false, true, false, true, false)), (String ((Ascii
-    (false, false, true, false, false, false, true, false)), (String ((Ascii
-    (false, true, true, false, false, false, true, false)), (String ((Ascii
-    (true, false, false, true, false, false, true, false)), (String ((Ascii
-    (true, false, false, true, false, false, true, false)), (String ((Ascii
-    (false, false, true, false, false, true, true, false)), (String ((Ascii
-    (true, false, true, false, false, true, true, false)), (String ((Ascii
-    (false, true, true, true, false, true, true, false)), (String ((Ascii
-    (false, false, true, false, true, true, true, false)), (String ((Ascii
-    (true, false, false, true, false, true, true, false)), (String ((Ascii
-    (false, true, true, false, false, true, true, false)), (String ((Ascii
-    (true, false, false, true, false, true, true, false)), (String ((Ascii
-    (true, true, false, false, false, true, true, false)), (String ((Ascii
-    (true, false, false, false, false, true, true, false)), (String ((Ascii
-    (false, false, true, false, true, true, true, false)), (String ((Ascii
-    (true, false, false, true, false, true, true, false)), (String ((Ascii
-    (true, true, true, true, false, true, true, false)), (String ((Ascii
-    (false, true, true, true, false, true, true, false)),
-    EmptyString)))))))))))))))))))))))))))))))))))), (S (S (S (S (S (S (S (S
-    O)))))))))) :: ((SRaw (String ((Ascii (true, true, false, false, false,
-    false, true, false)), (String ((Ascii (false, false, false, true, false,
-    true, true, false)), (String ((Ascii (true, false, true, false, false,
-    true, true, false)), (String ((Ascii (true, true, false, false, false,
-    true, true, false)), (String ((Ascii (true, true, false, true, false,
-    true, true, false)), (String ((Ascii (false, false, true, false, false,
-    false, true, false)), (String ((Ascii (true, false, false, true, false,
-    true, true, false)), (String ((Ascii (true, true, true, false, false,
-    true, true, false)), (String ((Ascii (true, false, false, true, false,
-    true, true, false)), (String ((Ascii (false, false, true, false, true,
-    true, true, false)), EmptyString))))))))))))))))))))) :: ((SAlpha
-    ((String ((Ascii (false, false, true, false, false, false, true, false)),
-    (String ((Ascii (false, true, true, false, false, false, true, false)),
-    (String ((Ascii (true, false, false, true, false, false, true, false)),
-    (String ((Ascii (true, false, false, false, false, false, true, false)),
-    (String ((Ascii (true, true, false, false, false, true, true, false)),
-    (String ((Ascii (true, true, false, false, false, true, true, false)),
-    (String ((Ascii (true, true, true, true, false, true, true, false)),
-    (String ((Ascii (true, false, true, false, true, true, true, false)),
-    (String ((Ascii (false, true, true, true, false, true, true, false)),
-    (String ((Ascii (false, false, true, false, true, true, true, false)),
-    (String ((Ascii (false, true, true, true, false, false, true, false)),
-    (String ((Ascii (true, false, true, false, true, true, true, false)),
-    (String ((Ascii (true, false, true, true, false, true, true, false)),
-    (String ((Ascii (false, true, false, false, false, true, true, false)),
-    (String ((Ascii (true, false, true, false, false, true, true, false)),
-    (String ((Ascii (false, true, false, false, true, true, true, false)),
-    EmptyString)))))))))))))))))))))))))))))))), (S (S (S (S (S (S (S (S (S
-    (S (S (S (S (S (S O))))))))))))))))) :: ((SNum ((String ((Ascii (true,
-    false, false, false, false, false, true, false)), (String ((Ascii (true,
-    false, true, true, false, true, true, false)), (String ((Ascii (true,
-    true, true, true, false, true, true, false)), (String ((Ascii (true,
-    false, true, false, true, true, true, false)), (String ((Ascii (false,
-    true, true, true, false, true, true, false)), (String ((Ascii (false,
-    false, true, false, true, true, true, false)), EmptyString)))))))))))),
-    (S (S (S (S (S (S (S (S (S (S (S (S O)))))))))))))) :: ((SStr ((String
-    ((Ascii (true, false, false, false, false, false, true, false)), (String
-    ((Ascii (false, false, true, false, false, true, true, false)), (String
-    ((Ascii (false, true, true, false, true, true, true, false)), (String
-    ((Ascii (true, false, false, true, false, true, true, false)), (String
-    ((Ascii (true, true, false, false, false, true, true, false)), (String
-    ((Ascii (true, false, true, false, false, true, true, false)), (String
-    ((Ascii (false, true, false, false, true, false, true, false)), (String
-    ((Ascii (true, true, true, true, false, true, true, false)), (String
-    ((Ascii (true, false, true, false, true, true, true, false)), (String
-    ((Ascii (false, false, true, false, true, true, true, false)), (String
-    ((Ascii (true, false, false, true, false, true, true, false)), (String
-    ((Ascii (false, true, true, true, false, true, true, false)), (String
-    ((Ascii (true, true, true, false, false, true, true, false)), (String
-    ((Ascii (false, true, true, true, false, false, true, false)), (String
-    ((Ascii (true, false, true, false, true, true, true, false)), (String
-    ((Ascii (true, false, true, true, false, true, true, false)), (String
-    ((Ascii (false, true, false, false, false, true, true, false)), (String
-    ((Ascii (true, false, true, false, false, true, true, false)), (String
-    ((Ascii (false, true, false, false, true, true, true, false)),
-    EmptyString)))))))))))))))))))))))))))))))))))))), (S (S (S (S (S (S (S
-    (S (S O))))))))))) :: ((SAlpha ((String ((Ascii (false, true, true,
-    false, false, false, true, false)), (String ((Ascii (true, false, false,
-    true, false, true, true, false)), (String ((Ascii (false, false, true,
-    true, false, true, true, false)), (String ((Ascii (true, false, true,
-    false, false, true, true, false)), (String ((Ascii (true, false, false,
-    true, false, false, true, false)), (String ((Ascii (false, false, true,
-    false, false, true, true, false)), (String ((Ascii (true, false, true,
-    false, false, true, true, false)), (String ((Ascii (false, true, true,
-    true, false, true, true, false)), (String ((Ascii (false, false, true,
-    false, true, true, true, false)), (String ((Ascii (true, false, false,
-    true, false, true, true, false)), (String ((Ascii (false, true, true,
-    false, false, true, true, false)), (String ((Ascii (true, false, false,
-    true, false, true, true, false)), (String ((Ascii (true, true, false,
-    false, false, true, true, false)), (String ((Ascii (true, false, false,
-    false, false, true, true, false)), (String ((Ascii (false, false, true,
-    false, true, true, true, false)), (String ((Ascii (true, false, false,
-    true, false, true, true, false)), (String ((Ascii (true, true, true,
-    true, false, true, true, false)), (String ((Ascii (false, true, true,
-    true, false, true, true, false)),
-    EmptyString)))))))))))))))))))))))))))))))))))), (S (S (S (S (S
-    O))))))) :: ((SAlpha ((String ((Ascii (true, false, false, false, false,
-    false, true, false)), (String ((Ascii (true, true, false, false, false,
-    false, true, false)), (String ((Ascii (false, false, false, true, false,
-    false, true, false)), (String ((Ascii (true, true, true, true, false,
-    false, true, false)), (String ((Ascii (false, false, false, false, true,
-    true, true, false)), (String ((Ascii (true, false, true, false, false,
-    true, true, false)), (String ((Ascii (false, true, false, false, true,
-    true, true, false)), (String ((Ascii (true, false, false, false, false,
-    true, true, false)), (String ((Ascii (false, false, true, false, true,
-    true, true, false)), (String ((Ascii (true, true, true, true, false,
-    true, true, false)), (String ((Ascii (false, true, false, false, true,
-    true, true, false)), (String ((Ascii (false, false, true, false, false,
-    false, true, false)), (String ((Ascii (true, false, false, false, false,
-    true, true, false)), (String ((Ascii (false, false, true, false, true,
-    true, true, false)), (String ((Ascii (true, false, false, false, false,
-    true, true, false)), EmptyString)))))))))))))))))))))))))))))), (S
-    O))) :: ((SAlpha ((String ((Ascii (true, false, false, true, false,
-    false, true, false)), (String ((Ascii (false, true, true, true, false,
-    true, true, false)), (String ((Ascii (false, false, true, false, false,
-    true, true, false)), (String ((Ascii (true, false, false, true, false,
-    true, true, false)), (String ((Ascii (false, true, true, false, true,
-    true, true, false)), (String ((Ascii (true, false, false, true, false,
-    true, true, false)), (String ((Ascii (false, false, true, false, false,
-    true, true, false)), (String ((Ascii (true, false, true, false, true,
-    true, true, false)), (String ((Ascii (true, false, false, false, false,
-    true, true, false)), (String ((Ascii (false, false, true, true, false,
-    true, true, false)), (String ((Ascii (false, true, true, true, false,
-    false, true, false)), (String ((Ascii (true, false, false, false, false,
-    true, true, false)), (String ((Ascii (true, false, true, true, false,
-    true, true, false)), (String ((Ascii (true, false, true, false, false,
-    true, true, false)), EmptyString)))))))))))))))))))))))))))), (S (S (S (S
-    (S (S (S (S (S (S (S (S (S (S (S (S (S (S (S (S (S (S
-    O)))))))))))))))))))))))) :: ((SAlpha ((String ((Ascii (false, false,
-    true, false, false, false, true, false)), (String ((Ascii (true, false,
-    false, true, false, true, true, false)), (String ((Ascii (true, true,
-    false, false, true, true, true, false)), (String ((Ascii (true, true,
-    false, false, false, true, true, false)), (String ((Ascii (false, true,
-    false, false, true, true, true, false)), (String ((Ascii (true, false,
-    true, false, false, true, true, false)), (String ((Ascii (false, false,
-    true, false, true, true, true, false)), (String ((Ascii (true, false,
-    false, true, false, true, true, false)), (String ((Ascii (true, true,
-    true, true, false, true, true, false)), (String ((Ascii (false, true,
-    true, true, false, true, true, false)), (String ((Ascii (true, false,
-    false, false, false, true, true, false)), (String ((Ascii (false, true,
-    false, false, true, true, true, false)), (String ((Ascii (true, false,
-    false, true, true, true, true, false)), (String ((Ascii (false, false,
-    true, false, false, false, true, false)), (String ((Ascii (true, false,
-    false, false, false, true, true, false)), (String ((Ascii (false, false,
-    true, false, true, true, true, false)), (String ((Ascii (true, false,
-    false, false, false, true, true, false)),
-    EmptyString)))))))))))))))))))))))))))))))))), (S (S O)))) :: ((SItoa
-    (String ((Ascii (true, false, false, false, false, false, true, false)),
-    (String ((Ascii (false, false, true, false, false, true, true, false)),
-    (String ((Ascii (false, false, true, false, false, true, true, false)),
-    (String ((Ascii (true, false, true, false, false, true, true, false)),
-    (String ((Ascii (false, true, true, true, false, true, true, false)),
-    (String ((Ascii (false, false, true, false, false, true, true, false)),
-    (String ((Ascii (true, false, false, false, false, true, true, false)),
-    (String ((Ascii (false, true, false, false, true, false, true, false)),
-    (String ((Ascii (true, false, true, false, false, true, true, false)),
-    (String ((Ascii (true, true, false, false, false, true, true, false)),
-    (String ((Ascii (true, true, true, true, false, true, true, false)),
-    (String ((Ascii (false, true, false, false, true, true, true, false)),
-    (String ((Ascii (false, false, true, false, false, true, true, false)),
-    (String ((Ascii (true, false, false, true, false, false, true, false)),
-    (String ((Ascii (false, true, true, true, false, true, true, false)),
-    (String ((Ascii (false, false, true, false, false, true, true, false)),
-    (String ((Ascii (true, false, false, true, false, true, true, false)),
-    (String ((Ascii (true, true, false, false, false, true, true, false)),
-    (String ((Ascii (true, false, false, false, false, true, true, false)),
-    (String ((Ascii (false, false, true, false, true, true, true, false)),
-    (String ((Ascii (true, true, true, true, false, true, true, false)),
-    (String ((Ascii (false, true, false, false, true, true, true, false)),
-    EmptyString))))))))))))))))))))))))))))))))))))))))))))) :: ((SAlpha
-    ((String ((Ascii (true, false, false, false, false, false, true, false)),
-    (String ((Ascii (true, true, false, false, false, false, true, false)),
-    (String ((Ascii (false, false, false, true, false, false, true, false)),
-    (String ((Ascii (true, true, true, true, false, false, true, false)),
-    (String ((Ascii (false, false, false, false, true, true, true, false)),
-    (String ((Ascii (true, false, true, false, false, true, true, false)),
-    (String ((Ascii (false, true, false, false, true, true, true, false)),
-    (String ((Ascii (true, false, false, false, false, true, true, false)),
-    (String ((Ascii (false, false, true, false, true, true, true, false)),
-    (String ((Ascii (true, true, true, true, false, true, true, false)),
-    (String ((Ascii (false, true, false, false, true, true, true, false)),
-    (String ((Ascii (false, true, false, false, true, false, true, false)),
-    (String ((Ascii (true, true, true, true, false, true, true, false)),
-    (String ((Ascii (true, false, true, false, true, true, true, false)),
-    (String ((Ascii (false, false, true, false, true, true, true, false)),
-    (String ((Ascii (true, false, false, true, false, true, true, false)),
-    (String ((Ascii (false, true, true, true, false, true, true, false)),
-    (String ((Ascii (true, true, true, false, false, true, true, false)),
-    (String ((Ascii (false, true, true, true, false, false, true, false)),
-    (String ((Ascii (true, false, true, false, true, true, true, false)),
-    (String ((Ascii (true, false, true, true, false, true, true, false)),
-    (String ((Ascii (false, true, false, false, false, true, true, false)),
-    (String ((Ascii (true, false, true, false, false, true, true, false)),
-    (String ((Ascii (false, true, false, false, true, true, true, false)),
-    EmptyString)))))))))))))))))))))))))))))))))))))))))))))))), (S (S (S (S
-    (S (S (S (S O)))))))))) :: ((SNum ((String ((Ascii (false, true, false,
-    true, false, false, true, false)), (String ((Ascii (true, false, true,
-    false, true, true, true, false)), (String ((Ascii (false, false, true,
-    true, false, true, true, false)), (String ((Ascii (true, false, false,
-    true, false, true, true, false)), (String ((Ascii (true, false, false,
-    false, false, true, true, false)), (String ((Ascii (false, true, true,
-    true, false, true, true, false)), (String ((Ascii (false, false, true,
-    false, false, false, true, false)), (String ((Ascii (true, false, false,
-    false, false, true, true, false)), (String ((Ascii (true, false, false,
-    true, true, true, true, false)), EmptyString)))))))))))))))))), (S (S (S
-    O))))) :: ((SNum ((String ((Ascii (true, true, false, false, true, false,
-    true, false)), (String ((Ascii (true, false, true, false, false, true,
-    true, false)), (String ((Ascii (true, false, false, false, true, true,
-    true, false)), (String ((Ascii (true, false, true, false, true, true,
-    true, false)), (String ((Ascii (true, false, true, false, false, true,
-    true, false)), (String ((Ascii (false, true, true, true, false, true,
-    true, false)), (String ((Ascii (true, true, false, false, false, true,
-    true, false)), (String ((Ascii (true, false, true, false, false, true,
-    true, false)), (String ((Ascii (false, true, true, true, false, false,
-    true, false)), (String ((Ascii (true, false, true, false, true, true,
-    true, false)), (String ((Ascii (true, false, true, true, false, true,
-    true, false)), (String ((Ascii (false, true, false, false, false, true,
-    true, false)), (String ((Ascii (true, false, true, false, false, true,
-    true, false)), (String ((Ascii (false, true, false, false, true, true,
-    true, false)), EmptyString)))))))))))))))))))))))))))), (S (S (S (S
-    O)))))) :: []))))))))))))))); l_cuts =
-    ((mkcut (S O) (S (S (S O))) (String ((Ascii (false, false, true, false,
-       true, false, true, false)), (String ((Ascii (false, true, false,
-       false, true, true, true, false)), (String ((Ascii (true, false, false,
-       false, false, true, true, false)), (String ((Ascii (false, true, true,
-       true, false, true, true, false)), (String ((Ascii (true, true, false,
-       false, true, true, true, false)), (String ((Ascii (true, false, false,
-       false, false, true, true, false)), (String ((Ascii (true, true, false,
-       false, false, true, true, false)), (String ((Ascii (false, false,
-       true, false, true, true, true, false)), (String ((Ascii (true, false,
-       false, true, false, true, true, false)), (String ((Ascii (true, true,
-       true, true, false, true, true, false)), (String ((Ascii (false, true,
-       true, true, false, true, true, false)), (String ((Ascii (true, true,
-       false, false, false, false, true, false)), (String ((Ascii (true,
-       true, true, true, false, true, true, false)), (String ((Ascii (false,
-       false, true, false, false, true, true, false)), (String ((Ascii (true,
-       false, true, false, false, true, true, false)),
-       EmptyString)))))))))))))))))))))))))))))) ((String ((Ascii (false,
-       false, false, false, true, true, true, false)), (String ((Ascii (true,
-       false, false, false, false, true, true, false)), (String ((Ascii
-       (false, true, false, false, true, true, true, false)), (String ((Ascii
-       (true, true, false, false, true, true, true, false)), (String ((Ascii
-       (true, false, true, false, false, true, true, false)), (String ((Ascii
-       (false, true, true, true, false, false, true, false)), (String ((Ascii
-       (true, false, true, false, true, true, true, false)), (String ((Ascii
-       (true, false, true, true, false, true, true, false)), (String ((Ascii
-       (false, true, true, false, false, false, true, false)), (String
-       ((Ascii (true, false, false, true, false, true, true, false)), (String
-       ((Ascii (true, false, true, false, false, true, true, false)), (String
-       ((Ascii (false, false, true, true, false, true, true, false)), (String
-       ((Ascii (false, false, true, false, false, true, true, false)),
-       EmptyString)))))))))))))))))))))))))) :: [])) :: ((mkcut (S (S (S O)))
-                                                           (S (S (S (S (S (S
-                                                           (S (S (S (S (S
-                                                           O)))))))))))
-                                                           (String ((Ascii
-                                                           (false, true,
-                                                           false, false,
-                                                           true, false, true,
-                                                           false)), (String
-                                                           ((Ascii (false,
-                                                           false, true,
-                                                           false, false,
-                                                           false, true,
-                                                           false)), (String
-                                                           ((Ascii (false,
-                                                           true, true, false,
-                                                           false, false,
-                                                           true, false)),
-                                                           (String ((Ascii
-                                                           (true, false,
-                                                           false, true,
-                                                           false, false,
-                                                           true, false)),
-                                                           (String ((Ascii
-                                                           (true, false,
-                                                           false, true,
-                                                           false, false,
-                                                           true, false)),
-                                                           (String ((Ascii
-                                                           (false, false,
-                                                           true, false,
-                                                           false, true, true,
-                                                           false)), (String
-                                                           ((Ascii (true,
-                                                           false, true,
-                                                           false, false,
-                                                           true, true,
-                                                           false)), (String
-                                                           ((Ascii (false,
-                                                           true, true, true,
-                                                           false, true, true,
-                                                           false)), (String
-                                                           ((Ascii (false,
-                                                           false, true,
-                                                           false, true, true,
-                                                           true, false)),
-                                                           (String ((Ascii
-                                                           (true, false,
-                                                           false, true,
-                                                           false, true, true,
-                                                           false)), (String
-                                                           ((Ascii (false,
-                                                           true, true, false,
-                                                           false, true, true,
-                                                           false)), (String
-                                                           ((Ascii (true,
-                                                           false, false,
-                                                           true, false, true,
-                                                           true, false)),
-                                                           (String ((Ascii
-                                                           (true, true,
-                                                           false, false,
-                                                           false, true, true,
-                                                           false)), (String
-                                                           ((Ascii (true,
-                                                           false, false,
-                                                           false, false,
-                                                           true, true,
-                                                           false)), (String
-                                                           ((Ascii (false,
-                                                           false, true,
-                                                           false, true, true,
-                                                           true, false)),
-                                                           (String ((Ascii
-                                                           (true, false,
-                                                           false, true,
-                                                           false, true, true,
-                                                           false)), (String
-                                                           ((Ascii (true,
-                                                           true, true, true,
-                                                           false, true, true,
-                                                           false)), (String
-                                                           ((Ascii (false,
-                                                           true, true, true,
-                                                           false, true, true,
-                                                           false)),
-                                                           EmptyString))))))))))))))))))))))))))))))))))))
-                                                           ((String ((Ascii
-                                                           (false, false,
-                                                           false, false,
-                                                           true, true, true,
-                                                           false)), (String
-                                                           ((Ascii (true,
-                                                           false, false,
-                                                           false, false,
-                                                           true, true,
-                                                           false)), (String
-                                                           ((Ascii (false,
-                                                           true, false,
-                                                           false, true, true,
-                                                           true, false)),
-                                                           (String ((Ascii
-                                                           (true, true,
-                                                           false, false,
-                                                           true, true, true,
-                                                           false)), (String
-                                                           ((Ascii (true,
-                                                           false, true,
-                                                           false, false,
-                                                           true, true,
-                                                           false)), (String
-                                                           ((Ascii (true,
-                                                           true, false,
-                                                           false, true,
-                                                           false, true,
-                                                           false)), (String
-                                                           ((Ascii (false,
-                                                           false, true,
-                                                           false, true, true,
-                                                           true, false)),
-                                                           (String ((Ascii
-                                                           (false, true,
-                                                           false, false,
-                                                           true, true, true,
-                                                           false)), (String
-                                                           ((Ascii (true,
-                                                           false, false,
-                                                           true, false, true,
-                                                           true, false)),
-                                                           (String ((Ascii
-                                                           (false, true,
-                                                           true, true, false,
-                                                           true, true,
-                                                           false)), (String
-                                                           ((Ascii (true,
-                                                           true, true, false,
-                                                           false, true, true,
-                                                           false)), (String
-                                                           ((Ascii (false,
-                                                           true, true, false,
-                                                           false, false,
-                                                           true, false)),
-                                                           (String ((Ascii
-                                                           (true, false,
-                                                           false, true,
-                                                           false, true, true,
-                                                           false)), (String
-                                                           ((Ascii (true,
-                                                           false, true,
-                                                           false, false,
-                                                           true, true,
-                                                           false)), (String
-                                                           ((Ascii (false,
-                                                           false, true, true,
-                                                           false, true, true,
-                                                           false)), (String
-                                                           ((Ascii (false,
-                                                           false, true,
-                                                           false, false,
-                                                           true, true,
-                                                           false)),
-                                                           EmptyString)))))))))))))))))))))))))))))))) :: [])) :: (
-    (mkcut (S (S (S (S (S (S (S (S (S (S (S O))))))))))) (S (S (S (S (S (S (S
-      (S (S (S (S (S O)))))))))))) (String ((Ascii (true, true, false, false,
-      false, false, true, false)), (String ((Ascii (false, false, false,
-      true, false, true, true, false)), (String ((Ascii (true, false, true,
-      false, false, true, true, false)), (String ((Ascii (true, true, false,
-      false, false, true, true, false)), (String ((Ascii (true, true, false,
-      true, false, true, true, false)), (String ((Ascii (false, false, true,
-      false, false, false, true, false)), (String ((Ascii (true, false,
-      false, true, false, true, true, false)), (String ((Ascii (true, true,
-      true, false, false, true, true, false)), (String ((Ascii (true, false,
-      false, true, false, true, true, false)), (String ((Ascii (false, false,
-      true, false, true, true, true, false)), EmptyString))))))))))))))))))))
-      ((String ((Ascii (false, false, false, false, true, true, true,
-      false)), (String ((Ascii (true, false, false, false, false, true, true,
-      false)), (String ((Ascii (false, true, false, false, true, true, true,
-      false)), (String ((Ascii (true, true, false, false, true, true, true,
-      false)), (String ((Ascii (true, false, true, false, false, true, true,
-      false)), (String ((Ascii (true, true, false, false, true, false, true,
-      false)), (String ((Ascii (false, false, true, false, true, true, true,
-      false)), (String ((Ascii (false, true, false, false, true, true, true,
-      false)), (String ((Ascii (true, false, false, true, false, true, true,
-      false)), (String ((Ascii (false, true, true, true, false, true, true,
-      false)), (String ((Ascii (true, true, true, false, false, true, true,
-      false)), (String ((Ascii (false, true, true, false, false, false, true,
-      false)), (String ((Ascii (true, false, false, true, false, true, true,
-      false)), (String ((Ascii (true, false, true, false, false, true, true,
-      false)), (String ((Ascii (false, false, true, true, false, true, true,
-      false)), (String ((Ascii (false, false, true, false, false, true, true,
-      false)), EmptyString)))))))))))))))))))))))))))))))) :: [])) :: (
-    (mkcut (S (S (S (S (S (S (S (S (S (S (S (S O)))))))))))) (S (S (S (S (S
-      (S (S (S (S (S (S (S (S (S (S (S (S (S (S (S (S (S (S (S (S (S (S
-      O))))))))))))))))))))))))))) (String ((Ascii (false, false, true,
-      false, false, false, true, false)), (String ((Ascii (false, true, true,
-      false, false, false, true, false)), (String ((Ascii (true, false,
-      false, true, false, false, true, false)), (String ((Ascii (true, false,
-      false, false, false, false, true, false)), (String ((Ascii (true, true,
-      false, false, false, true, true, false)), (String ((Ascii (true, true,
-      false, false, false, true, true, false)), (String ((Ascii (true, true,
-      true, true, false, true, true, false)), (String ((Ascii (true, false,
-      true, false, true, true, true, false)), (String ((Ascii (false, true,
-      true, true, false, true, true, false)), (String ((Ascii (false, false,
-      true, false, true, true, true, false)), (String ((Ascii (false, true,
-      true, true, false, false, true, false)), (String ((Ascii (true, false,
-      true, false, true, true, true, false)), (String ((Ascii (true, false,
-      true, true, false, true, true, false)), (String ((Ascii (false, true,
-      false, false, false, true, true, false)), (String ((Ascii (true, false,
-      true, false, false, true, true, false)), (String ((Ascii (false, true,
-      false, false, true, true, true, false)),
-      EmptyString)))))))))))))))))))))))))))))))) []) :: ((mkcut (S (S (S (S
-                                                            (S (S (S (S (S (S
-                                                            (S (S (S (S (S (S
-                                                            (S (S (S (S (S (S
-                                                            (S (S (S (S (S
-                                                            O)))))))))))))))))))))))))))
-                                                            (S (S (S (S (S (S
-                                                            (S (S (S (S (S (S
-                                                            (S (S (S (S (S (S
-                                                            (S (S (S (S (S (S
-                                                            (S (S (S (S (S (S
-                                                            (S (S (S (S (S (S
-                                                            (S (S (S
-                                                            O)))))))))))))))))))))))))))))))))))))))
-                                                            (String ((Ascii
-                                                            (true, false,
-                                                            false, false,
-                                                            false, false,
-                                                            true, false)),
-                                                            (String ((Ascii
-                                                            (true, false,
-                                                            true, true,
-                                                            false, true,
-                                                            true, false)),
-                                                            (String ((Ascii
-                                                            (true, true,
-                                                            true, true,
-                                                            false, true,
-                                                            true, false)),
-                                                            (String ((Ascii
-                                                            (true, false,
-                                                            true, false,
-                                                            true, true, true,
-                                                            false)), (String
-                                                            ((Ascii (false,
-                                                            true, true, true,
-                                                            false, true,
-                                                            true, false)),
-                                                            (String ((Ascii
-                                                            (false, false,
-                                                            true, false,
-                                                            true, true, true,
-                                                            false)),
-                                                            EmptyString))))))))))))
-                                                            ((String ((Ascii
-                                                            (false, false,
-                                                            false, false,
-                                                            true, true, true,
-                                                            false)), (String
-                                                            ((Ascii (true,
-                                                            false, false,
-                                                            false, false,
-                                                            true, true,
-                                                            false)), (String
-                                                            ((Ascii (false,
-                                                            true, false,
-                                                            false, true,
-                                                            true, true,
-                                                            false)), (String
-                                                            ((Ascii (true,
-                                                            true, false,
-                                                            false, true,
-                                                            true, true,
-                                                            false)), (String
-                                                            ((Ascii (true,
-                                                            false, true,
-                                                            false, false,
-                                                            true, true,
-                                                            false)), (String
-                                                            ((Ascii (false,
-                                                            true, true, true,
-                                                            false, false,
-                                                            true, false)),
-                                                            (String ((Ascii
-                                                            (true, false,
-                                                            true, false,
-                                                            true, true, true,
-                                                            false)), (String
-                                                            ((Ascii (true,
-                                                            false, true,
-                                                            true, false,
-                                                            true, true,
-                                                            false)), (String
-                                                            ((Ascii (false,
-                                                            true, true,
-                                                            false, false,
-                                                            false, true,
-                                                            false)), (String
-                                                            ((Ascii (true,
-                                                            false, false,
-                                                            true, false,
-                                                            true, true,
-                                                            false)), (String
-                                                            ((Ascii (true,
-                                                            false, true,
-                                                            false, false,
-                                                            true, true,
-                                                            false)), (String
-                                                            ((Ascii (false,
-                                                            false, true,
-                                                            true, false,
-                                                            true, true,
-                                                            false)), (String
-                                                            ((Ascii (false,
-                                                            false, true,
-                                                            false, false,
-                                                            true, true,
-                                                            false)),
-                                                            EmptyString)))))))))))))))))))))))))) :: [])) :: (
-    (mkcut (S (S (S (S (S (S (S (S (S (S (S (S (S (S (S (S (S (S (S (S (S (S
-      (S (S (S (S (S (S (S (S (S (S (S (S (S (S (S (S (S
-      O))))))))))))))))))))))))))))))))))))))) (S (S (S (S (S (S (S (S (S (S
-      (S (S (S (S (S (S (S (S (S (S (S (S (S (S (S (S (S (S (S (S (S (S (S (S
-      (S (S (S (S (S (S (S (S (S (S (S (S (S (S
-      O)))))))))))))))))))))))))))))))))))))))))))))))) (String ((Ascii
-      (true, false, false, false, false, false, true, false)), (String
-      ((Ascii (false, false, true, false, false, true, true, false)), (String
-      ((Ascii (false, true, true, false, true, true, true, false)), (String
-      ((Ascii (true, false, false, true, false, true, true, false)), (String
-      ((Ascii (true, true, false, false, false, true, true, false)), (String
-      ((Ascii (true, false, true, false, false, true, true, false)), (String
-      ((Ascii (false, true, false, false, true, false, true, false)), (String
-      ((Ascii (true, true, true, true, false, true, true, false)), (String
-      ((Ascii (true, false, true, false, true, true, true, false)), (String
-      ((Ascii (false, false, true, false, true, true, true, false)), (String
-      ((Ascii (true, false, false, true, false, true, true, false)), (String
-      ((Ascii (false, true, true, true, false, true, true, false)), (String
-      ((Ascii (true, true, true, false, false, true, true, false)), (String
-      ((Ascii (false, true, true, true, false, false, true, false)), (String
-      ((Ascii (true, false, true, false, true, true, true, false)), (String
-      ((Ascii (true, false, true, true, false, true, true, false)), (String
-      ((Ascii (false, true, false, false, false, true, true, false)), (String
-      ((Ascii (true, false, true, false, false, true, true, false)), (String
-      ((Ascii (false, true, false, false, true, true, true, false)),
-      EmptyString)))))))))))))))))))))))))))))))))))))) ((String ((Ascii
-      (false, false, false, false, true, true, true, false)), (String ((Ascii
-      (true, false, false, false, false, true, true, false)), (String ((Ascii
-      (false, true, false, false, true, true, true, false)), (String ((Ascii
-      (true, true, false, false, true, true, true, false)), (String ((Ascii
-      (true, false, true, false, false, true, true, false)), (String ((Ascii
-      (true, true, false, false, true, false, true, false)), (String ((Ascii
-      (false, false, true, false, true, true, true, false)), (String ((Ascii
-      (false, true, false, false, true, true, true, false)), (String ((Ascii
-      (true, false, false, true, false, true, true, false)), (String ((Ascii
-      (false, true, true, true, false, true, true, false)), (String ((Ascii
-      (true, true, true, false, false, true, true, false)), (String ((Ascii
-      (false, true, true, false, false, false, true, false)), (String ((Ascii
-      (true, false, false, true, false, true, true, false)), (String ((Ascii
-      (true, false, true, false, false, true, true, false)), (String ((Ascii
-      (false, false, true, true, false, true, true, false)), (String ((Ascii
-      (false, false, true, false, false, true, true, false)),
-      EmptyString)))))))))))))))))))))))))))))))) :: [])) :: ((mkcut (S (S (S
-                                                                (S (S (S (S
-                                                                (S (S (S (S
-                                                                (S (S (S (S
-                                                                (S (S (S (S
-                                                                (S (S (S (S
-                                                                (S (S (S (S
-                                                                (S (S (S (S
-                                                                (S (S (S (S
-                                                                (S (S (S (S
-                                                                (S (S (S (S
-                                                                (S (S (S (S
-                                                                (S
-                                                                O))))))))))))))))))))))))))))))))))))))))))))))))
-                                                                (S (S (S (S
-                                                                (S (S (S (S
-                                                                (S (S (S (S
-                                                                (S (S (S (S
-                                                                (S (S (S (S
-                                                                (S (S (S (S
-                                                                (S (S (S (S
-                                                                (S (S (S (S
-                                                                (S (S (S (S
-                                                                (S (S (S (S
-                                                                (S (S (S (S
-                                                                (S (S (S (S
-                                                                (S (S (S (S
-                                                                (S
-                                                                O)))))))))))))))))))))))))))))))))))))))))))))))))))))
-                                                                (String
-                                                                ((Ascii
-                                                                (false, true,
-                                                                true, false,
-                                                                false, false,
-                                                                true,
-                                                                false)),
-                                                                (String
-                                                                ((Ascii
-                                                                (true, false,
-                                                                false, true,
-                                                                false, true,
-                                                                true,
-                                                                false)),
-                                                                (String
-                                                                ((Ascii
-                                                                (false,
-                                                                false, true,
-                                                                true, false,
-                                                                true, true,
-                                                                false)),
-                                                                (String
-                                                                ((Ascii
-                                                                (true, false,
-                                                                true, false,
-                                                                false, true,
-                                                                true,
-                                                                false)),
-                                                                (String
-                                                                ((Ascii
-                                                                (true, false,
-                                                                false, true,
-                                                                false, false,
-                                                                true,
-                                                                false)),
-                                                                (String
-                                                                ((Ascii
-                                                                (false,
-                                                                false, true,
-                                                                false, false,
-                                                                true, true,
-                                                                false)),
-                                                                (String
-                                                                ((Ascii
-                                                                (true, false,
-                                                                true, false,
-                                                                false, true,
-                                                                true,
-                                                                false)),
-                                                                (String
-                                                                ((Ascii
-                                                                (false, true,
-                                                                true, true,
-                                                                false, true,
-                                                                true,
-                                                                false)),
-                                                                (String
-                                                                ((Ascii
-                                                                (false,
-                                                                false, true,
-                                                                false, true,
-                                                                true, true,
-                                                                false)),
-                                                                (String
-                                                                ((Ascii
-                                                                (true, false,
-                                                                false, true,
-                                                                false, true,
-                                                                true,
-                                                                false)),
-                                                                (String
-                                                                ((Ascii
-                                                                (false, true,
-                                                                true, false,
-                                                                false, true,
-                                                                true,
-                                                                false)),
-                                                                (String
-                                                                ((Ascii
-                                                                (true, false,
-                                                                false, true,
-                                                                false, true,
-                                                                true,
-                                                                false)),
-                                                                (String
-                                                                ((Ascii
-                                                                (true, true,
-                                                                false, false,
-                                                                false, true,
-                                                                true,
-                                                                false)),
-                                                                (String
-                                                                ((Ascii
-                                                                (true, false,
-                                                                false, false,
-                                                                false, true,
-                                                                true,
-                                                                false)),
-                                                                (String
-                                                                ((Ascii
-                                                                (false,
-                                                                false, true,
-                                                                false, true,
-                                                                true, true,
-                                                                false)),
-                                                                (String
-                                                                ((Ascii
-                                                                (true, false,
-                                                                false, true,
-                                                                false, true,
-                                                                true,
-                                                                false)),
-                                                                (String
-                                                                ((Ascii
-                                                                (true, true,
-                                                                true, true,
-                                                                false, true,
-                                                                true,
-                                                                false)),
-                                                                (String
-                                                                ((Ascii
-                                                                (false, true,
-                                                                true, true,
-                                                                false, true,
-                                                                true,
-                                                                false)),
-                                                                EmptyString))))))))))))))))))))))))))))))))))))
-                                                                ((String
-                                                                ((Ascii
-                                                                (false,
-                                                                false, false,
-                                                                false, true,
-                                                                true, true,
-                                                                false)),
-                                                                (String
-                                                                ((Ascii
-                                                                (true, false,
-                                                                false, false,
-                                                                false, true,
-                                                                true,
-                                                                false)),
-                                                                (String
-                                                                ((Ascii
-                                                                (false, true,
-                                                                false, false,
-                                                                true, true,
-                                                                true,
-                                                                false)),
-                                                                (String
-                                                                ((Ascii
-                                                                (true, true,
-                                                                false, false,
-                                                                true, true,
-                                                                true,
-                                                                false)),
-                                                                (String
-                                                                ((Ascii
-                                                                (true, false,
-                                                                true, false,
-                                                                false, true,
-                                                                true,
-                                                                false)),
-                                                                (String
-                                                                ((Ascii
-                                                                (true, true,
-                                                                false, false,
-                                                                true, false,
-                                                                true,
-                                                                false)),
-                                                                (String
-                                                                ((Ascii
-                                                                (false,
-                                                                false, true,
-                                                                false, true,
-                                                                true, true,
-                                                                false)),
-                                                                (String
-                                                                ((Ascii
-                                                                (false, true,
-                                                                false, false,
-                                                                true, true,
-                                                                true,
-                                                                false)),
-                                                                (String
-                                                                ((Ascii
-                                                                (true, false,
-                                                                false, true,
-                                                                false, true,
-                                                                true,
-                                                                false)),
-                                                                (String
-                                                                ((Ascii
-                                                                (false, true,
-                                                                true, true,
-                                                                false, true,
-                                                                true,
-                                                                false)),
-                                                                (String
-                                                                ((Ascii
-                                                                (true, true,
-                                                                true, false,
-                                                                false, true,
-                                                                true,
-                                                                false)),
-                                                                (String
-                                                                ((Ascii
-                                                                (false, true,
-                                                                true, false,
-                                                                false, false,
-                                                                true,
-                                                                false)),
-                                                                (String
-                                                                ((Ascii
-                                                                (true, false,
-                                                                false, true,
-                                                                false, true,
-                                                                true,
-                                                                false)),
-                                                                (String
-                                                                ((Ascii
-                                                                (true, false,
-                                                                true, false,
-                                                                false, true,
-                                                                true,
-                                                                false)),
-                                                                (String
-                                                                ((Ascii
-                                                                (false,
-                                                                false, true,
-                                                                true, false,
-                                                                true, true,
-                                                                false)),
-                                                                (String
-                                                                ((Ascii
-                                                                (false,
-                                                                false, true,
-                                                                false, false,
-                                                                true, true,
-                                                                false)),
-                                                                EmptyString)))))))))))))))))))))))))))))))) :: [])) :: (
-    (mkcut (S (S (S (S (S (S (S (S (S (S (S (S (S (S (S (S (S (S (S (S (S (S
-      (S (S (S (S (S (S (S (S (S (S (S (S (S (S (S (S (S (S (S (S (S (S (S (S
-      (S (S (S (S (S (S (S
-      O))))))))))))))))))))))))))))))))))))))))))))))))))))) (S (S (S (S (S
-      (S (S (S (S (S (S (S (S (S (S (S (S (S (S (S (S (S (S (S (S (S (S (S (S
-      (S (S (S (S (S (S (S (S (S (S (S (S (S (S (S (S (S (S (S (S (S (S (S (S
-      (S O)))))))))))))))))))))))))))))))))))))))))))))))))))))) (String
-      ((Ascii (true, false, false, false, false, false, true, false)),
-      (String ((Ascii (true, true, false, false, false, false, true, false)),
-      (String ((Ascii (false, false, false, true, false, false, true,
-      false)), (String ((Ascii (true, true, true, true, false, false, true,
-      false)), (String ((Ascii (false, false, false, false, true, true, true,
-      false)), (String ((Ascii (true, false, true, false, false, true, true,
-      false)), (String ((Ascii (false, true, false, false, true, true, true,
-      false)), (String ((Ascii (true, false, false, false, false, true, true,
-      false)), (String ((Ascii (false, false, true, false, true, true, true,
-      false)), (String ((Ascii (true, true, true, true, false, true, true,
-      false)), (String ((Ascii (false, true, false, false, true, true, true,
-      false)), (String ((Ascii (false, false, true, false, false, false,
-      true, false)), (String ((Ascii (true, false, false, false, false, true,
-      true, false)), (String ((Ascii (false, false, true, false, true, true,
-      true, false)), (String ((Ascii (true, false, false, false, false, true,
-      true, false)), EmptyString)))))))))))))))))))))))))))))) ((String
-      ((Ascii (false, false, false, false, true, true, true, false)), (String
-      ((Ascii (true, false, false, false, false, true, true, false)), (String
-      ((Ascii (false, true, false, false, true, true, true, false)), (String
-      ((Ascii (true, true, false, false, true, true, true, false)), (String
-      ((Ascii (true, false, true, false, false, true, true, false)), (String
-      ((Ascii (true, true, false, false, true, false, true, false)), (String
-      ((Ascii (false, false, true, false, true, true, true, false)), (String
-      ((Ascii (false, true, false, false, true, true, true, false)), (String
-      ((Ascii (true, false, false, true, false, true, true, false)), (String
-      ((Ascii (false, true, true, true, false, true, true, false)), (String
-      ((Ascii (true, true, true, false, false, true, true, false)), (String
-      ((Ascii (false, true, true, false, false, false, true, false)), (String
-      ((Ascii (true, false, false, true, false, true, true, false)), (String
-      ((Ascii (true, false, true, false, false, true, true, false)), (String
-      ((Ascii (false, false, true, true, false, true, true, false)), (String
-      ((Ascii (false, false, true, false, false, true, true, false)),
-      EmptyString)))))))))))))))))))))))))))))))) :: [])) :: ((mkcut (S (S (S
-                                                                (S (S (S (S
-                                                                (S (S (S (S
-                                                                (S (S (S (S
-                                                                (S (S (S (S
-                                                                (S (S (S (S
-                                                                (S (S (S (S
-                                                                (S (S (S (S
-                                                                (S (S (S (S
-                                                                (S (S (S (S
-                                                                (S (S (S (S
-                                                                (S (S (S (S
-                                                                (S (S (S (S
-                                                                (S (S (S
-                                                                O))))))))))))))))))))))))))))))))))))))))))))))))))))))
-                                                                (S (S (S (S
-                                                                (S (S (S (S
-                                                                (S (S (S (S
-                                                                (S (S (S (S
-                                                                (S (S (S (S
-                                                                (S (S (S (S
-                                                                (S (S (S (S
-                                                                (S (S (S (S
-                                                                (S (S (S (S
-                                                                (S (S (S (S
-                                                                (S (S (S (S
-                                                                (S (S (S (S
-                                                                (S (S (S (S
-                                                                (S (S (S (S
-                                                                (S (S (S (S
-                                                                (S (S (S (S
-                                                                (S (S (S (S
-                                                                (S (S (S (S
-                                                                (S (S (S (S
-                                                                O))))))))))))))))))))))))))))))))))))))))))))))))))))))))))))))))))))))))))))
-                                                                (String
-                                                                ((Ascii
-                                                                (true, false,
-                                                                false, true,
-                                                                false, false,
-                                                                true,
-                                                                false)),
-                                                                (String
-                                                                ((Ascii
-                                                                (false, true,
-                                                                true, true,
-                                                                false, true,
-                                                                true,
-                                                                false)),
-                                                                (String
-                                                                ((Ascii
-                                                                (false,
-                                                                false, true,
-                                                                false, false,
-                                                                true, true,
-                                                                false)),
-                                                                (String
-                                                                ((Ascii
-                                                                (true, false,
-                                                                false, true,
-                                                                false, true,
-                                                                true,
-                                                                false)),
-                                                                (String
-                                                                ((Ascii
-                                                                (false, true,
-                                                                true, false,
-                                                                true, true,
-                                                                true,
-                                                                false)),
-                                                                (String
-                                                                ((Ascii
-                                                                (true, false,
-                                                                false, true,
-                                                                false, true,
-                                                                true,
-                                                                false)),
-                                                                (String
-                                                                ((Ascii
-                                                                (false,
-                                                                false, true,
-                                                                false, false,
-                                                                true, true,
-                                                                false)),
-                                                                (String
-                                                                ((Ascii
-                                                                (true, false,
-                                                                true, false,
-                                                                true, true,
-                                                                true,
-                                                                false)),
-                                                                (String
-                                                                ((Ascii
-                                                                (true, false,
-                                                                false, false,
-                                                                false, true,
-                                                                true,
-                                                                false)),
-                                                                (String
-                                                                ((Ascii
-                                                                (false,
-                                                                false, true,
-                                                                true, false,
-                                                                true, true,
-                                                                false)),
-                                                                (String
-                                                                ((Ascii
-                                                                (false, true,
-                                                                true, true,
-                                                                false, false,
-                                                                true,
-                                                                false)),
-                                                                (String
-                                                                ((Ascii
-                                                                (true, false,
-                                                                false, false,
-                                                                false, true,
-                                                                true,
-                                                                false)),
-                                                                (String
-                                                                ((Ascii
-                                                                (true, false,
-                                                                true, true,
-                                                                false, true,
-                                                                true,
-                                                                false)),
-                                                                (String
-                                                                ((Ascii
-                                                                (true, false,
-                                                                true, false,
-                                                                false, true,
-                                                                true,
-                                                                false)),
-                                                                EmptyString))))))))))))))))))))))))))))
-                                                                []) :: (
-    (mkcut (S (S (S (S (S (S (S (S (S (S (S (S (S (S (S (S (S (S (S (S (S (S
-      (S (S (S (S (S (S (S (S (S (S (S (S (S (S (S (S (S (S (S (S (S (S (S (S
-      (S (S (S (S (S (S (S (S (S (S (S (S (S (S (S (S (S (S (S (S (S (S (S (S
-      (S (S (S (S (S (S
-      O))))))))))))))))))))))))))))))))))))))))))))))))))))))))))))))))))))))))))))
-      (S (S (S (S (S (S (S (S (S (S (S (S (S (S (S (S (S (S (S (S (S (S (S (S
-      (S (S (S (S (S (S (S (S (S (S (S (S (S (S (S (S (S (S (S (S (S (S (S (S
-      (S (S (S (S (S (S (S (S (S (S (S (S (S (S (S (S (S (S (S (S (S (S (S (S
-      (S (S (S (S (S (S
-      O))))))))))))))))))))))))))))))))))))))))))))))))))))))))))))))))))))))))))))))
-      (String ((Ascii (false, false, true, false, false, false, true,
-      false)), (String ((Ascii (true, false, false, true, false, true, true,
-      false)), (String ((Ascii (true, true, false, false, true, true, true,
-      false)), (String ((Ascii (true, true, false, false, false, true, true,
-      false)), (String ((Ascii (false, true, false, false, true, true, true,
-      false)), (String ((Ascii (true, false, true, false, false, true, true,
-      false)), (String ((Ascii (false, false, true, false, true, true, true,
-      false)), (String ((Ascii (true, false, false, true, false, true, true,
-      false)), (String ((Ascii (true, true, true, true, false, true, true,
-      false)), (String ((Ascii (false, true, true, true, false, true, true,
-      false)), (String ((Ascii (true, false, false, false, false, true, true,
-      false)), (String ((Ascii (false, true, false, false, true, true, true,
-      false)), (String ((Ascii (true, false, false, true, true, true, true,
-      false)), (String ((Ascii (false, false, true, false, false, false,
-      true, false)), (String ((Ascii (true, false, false, false, false, true,
-      true, false)), (String ((Ascii (false, false, true, false, true, true,
-      true, false)), (String ((Ascii (true, false, false, false, false, true,
-      true, false)), EmptyString)))))))))))))))))))))))))))))))))) []) :: (
-    (mkcut (S (S (S (S (S (S (S (S (S (S (S (S (S (S (S (S (S (S (S (S (S (S
-      (S (S (S (S (S (S (S (S (S (S (S (S (S (S (S (S (S (S (S (S (S (S (S (S
-      (S (S (S (S (S (S (S (S (S (S (S (S (S (S (S (S (S (S (S (S (S (S (S (S
-      (S (S (S (S (S (S (S (S
-      O))))))))))))))))))))))))))))))))))))))))))))))))))))))))))))))))))))))))))))))
-      (S (S (S (S (S (S (S (S (S (S (S (S (S (S (S (S (S (S (S (S (S (S (S (S
-      (S (S (S (S (S (S (S (S (S (S (S (S (S (S (S (S (S (S (S (S (S (S (S (S
-      (S (S (S (S (S (S (S (S (S (S (S (S (S (S (S (S (S (S (S (S (S (S (S (S
-      (S (S (S (S (S (S (S
-      O)))))))))))))))))))))))))))))))))))))))))))))))))))))))))))))))))))))))))))))))
-      (String ((Ascii (true, false, false, false, false, false, true,
-      false)), (String ((Ascii (false, false, true, false, false, true, true,
-      false)), (String ((Ascii (false, false, true, false, false, true, true,
-      false)), (String ((Ascii (true, false, true, false, false, true, true,
-      false)), (String ((Ascii (false, true, true, true, false, true, true,
-      false)), (String ((Ascii (false, false, true, false, false, true, true,
-      false)), (String ((Ascii (true, false, false, false, false, true, true,
-      false)), (String ((Ascii (false, true, false, false, true, false, true,
-      false)), (String ((Ascii (true, false, true, false, false, true, true,
-      false)), (String ((Ascii (true, true, false, false, false, true, true,
-      false)), (String ((Ascii (true, true, true, true, false, true, true,
-      false)), (String ((Ascii (false, true, false, false, true, true, true,
-      false)), (String ((Ascii (false, false, true, false, false, true, true,
-      false)), (String ((Ascii (true, false, false, true, false, false, true,
-      false)), (String ((Ascii (false, true, true, true, false, true, true,
-      false)), (String ((Ascii (false, false, true, false, false, true, true,
-      false)), (String ((Ascii (true, false, false, true, false, true, true,
-      false)), (String ((Ascii (true, true, false, false, false, true, true,
-      false)), (String ((Ascii (true, false, false, false, false, true, true,
-      false)), (String ((Ascii (false, false, true, false, true, true, true,
-      false)), (String ((Ascii (true, true, true, true, false, true, true,
-      false)), (String ((Ascii (false, true, false, false, true, true, true,
-      false)), EmptyString))))))))))))))))))))))))))))))))))))))))))))
-      ((String ((Ascii (false, false, false, false, true, true, true,
-      false)), (String ((Ascii (true, false, false, false, false, true, true,
-      false)), (String ((Ascii (false, true, false, false, true, true, true,
-      false)), (String ((Ascii (true, true, false, false, true, true, true,
-      false)), (String ((Ascii (true, false, true, false, false, true, true,
-      false)), (String ((Ascii (false, true, true, true, false, false, true,
-      false)), (String ((Ascii (true, false, true, false, true, true, true,
-      false)), (String ((Ascii (true, false, true, true, false, true, true,
-      false)), (String ((Ascii (false, true, true, false, false, false, true,
-      false)), (String ((Ascii (true, false, false, true, false, true, true,
-      false)), (String ((Ascii (true, false, true, false, false, true, true,
-      false)), (String ((Ascii (false, false, true, true, false, true, true,
-      false)), (String ((Ascii (false, false, true, false, false, true, true,
-      false)), EmptyString)))))))))))))))))))))))))) :: [])) :: ((mkcut (S (S
-                                                                   (S (S (S
-                                                                   (S (S (S
-                                                                   (S (S (S
-                                                                   (S (S (S
-                                                                   (S (S (S
-                                                                   (S (S (S
-                                                                   (S (S (S
-                                                                   (S (S (S
-                                                                   (S (S (S
-                                                                   (S (S (S
-                                                                   (S (S (S
-                                                                   (S (S (S
-                                                                   (S (S (S
-                                                                   (S (S (S
-                                                                   (S (S (S
-                                                                   (S (S (S
-                                                                   (S (S (S
-                                                                   (S (S (S
-                                                                   (S (S (S
-                                                                   (S (S (S
-                                                                   (S (S (S
-                                                                   (S (S (S
-                                                                   (S (S (S
-                                                                   (S (S (S
-                                                                   (S (S (S
-                                                                   (S (S
-                                                                   O)))))))))))))))))))))))))))))))))))))))))))))))))))))))))))))))))))))))))))))))
-                                                                   (S (S (S
-                                                                   (S (S (S
-                                                                   (S (S (S
-                                                                   (S (S (S
-                                                                   (S (S (S
-                                                                   (S (S (S
-                                                                   (S (S (S
-                                                                   (S (S (S
-                                                                   (S (S (S
-                                                                   (S (S (S
-                                                                   (S (S (S
-                                                                   (S (S (S
-                                                                   (S (S (S
-                                                                   (S (S (S
-                                                                   (S (S (S
-                                                                   (S (S (S
-                                                                   (S (S (S
-                                                                   (S (S (S
-                                                                   (S (S (S
-                                                                   (S (S (S
-                                                                   (S (S (S
-                                                                   (S (S (S
-                                                                   (S (S (S
-                                                                   (S (S (S
-                                                                   (S (S (S
-                                                                   (S (S (S
-                                                                   (S (S (S
-                                                                   (S (S (S
-                                                                   (S (S (S
-                                                                   O)))))))))))))))))))))))))))))))))))))))))))))))))))))))))))))))))))))))))))))))))))))))
-                                                                   (String
-                                                                   ((Ascii
-                                                                   (true,
-                                                                   false,
-                                                                   false,
-                                                                   false,
-                                                                   false,
-                                                                   false,
-                                                                   true,
-                                                                   false)),
-                                                                   (String
-                                                                   ((Ascii
-                                                                   (true,
-                                                                   true,
-                                                                   false,
-                                                                   false,
-                                                                   false,
-                                                                   false,
-                                                                   true,
-                                                                   false)),
-                                                                   (String
-                                                                   ((Ascii
-                                                                   (false,
-                                                                   false,
-                                                                   false,
-                                                                   true,
-                                                                   false,
-                                                                   false,
-                                                                   true,
-                                                                   false)),
-                                                                   (String
-                                                                   ((Ascii
-                                                                   (true,
-                                                                   true,
-                                                                   true,
-                                                                   true,
-                                                                   false,
-                                                                   false,
-                                                                   true,
-                                                                   false)),
-                                                                   (String
-                                                                   ((Ascii
-                                                                   (false,
-                                                                   false,
-                                                                   false,
-                                                                   false,
-                                                                   true,
-                                                                   true,
-                                                                   true,
-                                                                   false)),
-                                                                   (String
-                                                                   ((Ascii
-                                                                   (true,
-                                                                   false,
-                                                                   true,
-                                                                   false,
-                                                                   false,
-                                                                   true,
-                                                                   true,
-                                                                   false)),
-                                                                   (String
-                                                                   ((Ascii
-                                                                   (false,
-                                                                   true,
-                                                                   false,
-                                                                   false,
-                                                                   true,
-                                                                   true,
-                                                                   true,
-                                                                   false)),
-                                                                   (String
-                                                                   ((Ascii
-                                                                   (true,
-                                                                   false,
-                                                                   false,
-                                                                   false,
-                                                                   false,
-                                                                   true,
-                                                                   true,
-                                                                   false)),
-                                                                   (String
-                                                                   ((Ascii
-                                                                   (false,
-                                                                   false,
-                                                                   true,
-                                                                   false,
-                                                                   true,
-                                                                   true,
-                                                                   true,
-                                                                   false)),
-                                                                   (String
-                                                                   ((Ascii
-                                                                   (true,
-                                                                   true,
-                                                                   true,
-                                                                   true,
-                                                                   false,
-                                                                   true,
-                                                                   true,
-                                                                   false)),
-                                                                   (String
-                                                                   ((Ascii
-                                                                   (false,
-                                                                   true,
-                                                                   false,
-                                                                   false,
-                                                                   true,
-                                                                   true,
-                                                                   true,
-                                                                   false)),
-                                                                   (String
-                                                                   ((Ascii
-                                                                   (false,
-                                                                   true,
-                                                                   false,
-                                                                   false,
-                                                                   true,
-                                                                   false,
-                                                                   true,
-                                                                   false)),
-                                                                   (String
-                                                                   ((Ascii
-                                                                   (true,
-                                                                   true,
-                                                                   true,
-                                                                   true,
-                                                                   false,
-                                                                   true,
-                                                                   true,
-                                                                   false)),
-                                                                   (String
-                                                                   ((Ascii
-                                                                   (true,
-                                                                   false,
-                                                                   true,
-                                                                   false,
-                                                                   true,
-                                                                   true,
-                                                                   true,
-                                                                   false)),
-                                                                   (String
-                                                                   ((Ascii
-                                                                   (false,
-                                                                   false,
-                                                                   true,
-                                                                   false,
-                                                                   true,
-                                                                   true,
-                                                                   true,
-                                                                   false)),
-                                                                   (String
-                                                                   ((Ascii
-                                                                   (true,
-                                                                   false,
-                                                                   false,
-                                                                   true,
-                                                                   false,
-                                                                   true,
-                                                                   true,
-                                                                   false)),
-                                                                   (String
-                                                                   ((Ascii
-                                                                   (false,
-                                                                   true,
-                                                                   true,
-                                                                   true,
-                                                                   false,
-                                                                   true,
-                                                                   true,
-                                                                   false)),
-                                                                   (String
-                                                                   ((Ascii
-                                                                   (true,
-                                                                   true,
-                                                                   true,
-                                                                   false,
-                                                                   false,
-                                                                   true,
-                                                                   true,
-                                                                   false)),
-                                                                   (String
-                                                                   ((Ascii
-                                                                   (false,
-                                                                   true,
-                                                                   true,
-                                                                   true,
-                                                                   false,
-                                                                   false,
-                                                                   true,
-                                                                   false)),
-                                                                   (String
-                                                                   ((Ascii
-                                                                   (true,
-                                                                   false,
-                                                                   true,
-                                                                   false,
-                                                                   true,
-                                                                   true,
-                                                                   true,
-                                                                   false)),
-                                                                   (String
-                                                                   ((Ascii
-                                                                   (true,
-                                                                   false,
-                                                                   true,
-                                                                   true,
-                                                                   false,
-                                                                   true,
-                                                                   true,
-                                                                   false)),
-                                                                   (String
-                                                                   ((Ascii
-                                                                   (false,
-                                                                   true,
-                                                                   false,
-                                                                   false,
-                                                                   false,
-                                                                   true,
-                                                                   true,
-                                                                   false)),
-                                                                   (String
-                                                                   ((Ascii
-                                                                   (true,
-                                                                   false,
-                                                                   true,
-                                                                   false,
-                                                                   false,
-                                                                   true,
-                                                                   true,
-                                                                   false)),
-                                                                   (String
-                                                                   ((Ascii
-                                                                   (false,
-                                                                   true,
-                                                                   false,
-                                                                   false,
-                                                                   true,
-                                                                   true,
-                                                                   true,
-                                                                   false)),
-                                                                   EmptyString))))))))))))))))))))))))))))))))))))))))))))))))
-                                                                   ((String
-                                                                   ((Ascii
-                                                                   (false,
-                                                                   false,
-                                                                   false,
-                                                                   false,
-                                                                   true,
-                                                                   true,
-                                                                   true,
-                                                                   false)),
-                                                                   (String
-                                                                   ((Ascii
-                                                                   (true,
-                                                                   false,
-                                                                   false,
-                                                                   false,
-                                                                   false,
-                                                                   true,
-                                                                   true,
-                                                                   false)),
-                                                                   (String
-                                                                   ((Ascii
-                                                                   (false,
-                                                                   true,
-                                                                   false,
-                                                                   false,
-                                                                   true,
-                                                                   true,
-                                                                   true,
-                                                                   false)),
-                                                                   (String
-                                                                   ((Ascii
-                                                                   (true,
-                                                                   true,
-                                                                   false,
-                                                                   false,
-                                                                   true,
-                                                                   true,
-                                                                   true,
-                                                                   false)),
-                                                                   (String
-                                                                   ((Ascii
-                                                                   (true,
-                                                                   false,
-                                                                   true,
-                                                                   false,
-                                                                   false,
-                                                                   true,
-                                                                   true,
-                                                                   false)),
-                                                                   (String
-                                                                   ((Ascii
-                                                                   (true,
-                                                                   true,
-                                                                   false,
-                                                                   false,
-                                                                   true,
-                                                                   false,
-                                                                   true,
-                                                                   false)),
-                                                                   (String
-                                                                   ((Ascii
-                                                                   (false,
-                                                                   false,
-                                                                   true,
-                                                                   false,
-                                                                   true,
-                                                                   true,
-                                                                   true,
-                                                                   false)),
-                                                                   (String
-                                                                   ((Ascii
-                                                                   (false,
-                                                                   true,
-                                                                   false,
-                                                                   false,
-                                                                   true,
-                                                                   true,
-                                                                   true,
-                                                                   false)),
-                                                                   (String
-                                                                   ((Ascii
-                                                                   (true,
-                                                                   false,
-                                                                   false,
-                                                                   true,
-                                                                   false,
-                                                                   true,
-                                                                   true,
-                                                                   false)),
-                                                                   (String
-                                                                   ((Ascii
-                                                                   (false,
-                                                                   true,
-                                                                   true,
-                                                                   true,
-                                                                   false,
-                                                                   true,
-                                                                   true,
-                                                                   false)),
-                                                                   (String
-                                                                   ((Ascii
-                                                                   (true,
-                                                                   true,
-                                                                   true,
-                                                                   false,
-                                                                   false,
-                                                                   true,
-                                                                   true,
-                                                                   false)),
-                                                                   (String
-                                                                   ((Ascii
-                                                                   (false,
-                                                                   true,
-                                                                   true,
-                                                                   false,
-                                                                   false,
-                                                                   false,
-                                                                   true,
-                                                                   false)),
-                                                                   (String
-                                                                   ((Ascii
-                                                                   (true,
-                                                                   false,
-                                                                   false,
-                                                                   true,
-                                                                   false,
-                                                                   true,
-                                                                   true,
-                                                                   false)),
-                                                                   (String
-                                                                   ((Ascii
-                                                                   (true,
-                                                                   false,
-                                                                   true,
-                                                                   false,
-                                                                   false,
-                                                                   true,
-                                                                   true,
-                                                                   false)),
-                                                                   (String
-                                                                   ((Ascii
-                                                                   (false,
-                                                                   false,
-                                                                   true,
-                                                                   true,
-                                                                   false,
-                                                                   true,
-                                                                   true,
-                                                                   false)),
-                                                                   (String
-                                                                   ((Ascii
-                                                                   (false,
-                                                                   false,
-                                                                   true,
-                                                                   false,
-                                                                   false,
-                                                                   true,
-                                                                   true,
-                                                                   false)),
-                                                                   EmptyString)))))))))))))))))))))))))))))))) :: [])) :: (
-    (mkcut (S (S (S (S (S (S (S (S (S (S (S (S (S (S (S (S (S (S (S (S (S (S
-      (S (S (S (S (S (S (S (S (S (S (S (S (S (S (S (S (S (S (S (S (S (S (S (S
-      (S (S (S (S (S (S (S (S (S (S (S (S (S (S (S (S (S (S (S (S (S (S (S (S
-      (S (S (S (S (S (S (S (S (S (S (S (S (S (S (S (S (S
-      O)))))))))))))))))))))))))))))))))))))))))))))))))))))))))))))))))))))))))))))))))))))))
-      (S (S (S (S (S (S (S (S (S (S (S (S (S (S (S (S (S (S (S (S (S (S (S (S
-      (S (S (S (S (S (S (S (S (S (S (S (S (S (S (S (S (S (S (S (S (S (S (S (S
-      (S (S (S (S (S (S (S (S (S (S (S (S (S (S (S (S (S (S (S (S (S (S (S (S
-      (S (S (S (S (S (S (S (S (S (S (S (S (S (S (S (S (S (S
-      O))))))))))))))))))))))))))))))))))))))))))))))))))))))))))))))))))))))))))))))))))))))))))
-      (String ((Ascii (false, true, false, true, false, false, true, false)),
-      (String ((Ascii (true, false, true, false, true, true, true, false)),
-      (String ((Ascii (false, false, true, true, false, true, true, false)),
-      (String ((Ascii (true, false, false, true, false, true, true, false)),
-      (String ((Ascii (true, false, false, false, false, true, true, false)),
-      (String ((Ascii (false, true, true, true, false, true, true, false)),
-      (String ((Ascii (false, false, true, false, false, false, true,
-      false)), (String ((Ascii (true, false, false, false, false, true, true,
-      false)), (String ((Ascii (true, false, false, true, true, true, true,
-      false)), EmptyString)))))))))))))))))) ((String ((Ascii (false, false,
-      false, false, true, true, true, false)), (String ((Ascii (true, false,
-      false, false, false, true, true, false)), (String ((Ascii (false, true,
-      false, false, true, true, true, false)), (String ((Ascii (true, true,
-      false, false, true, true, true, false)), (String ((Ascii (true, false,
-      true, false, false, true, true, false)), (String ((Ascii (false, true,
-      true, true, false, false, true, false)), (String ((Ascii (true, false,
-      true, false, true, true, true, false)), (String ((Ascii (true, false,
-      true, true, false, true, true, false)), (String ((Ascii (false, true,
-      true, false, false, false, true, false)), (String ((Ascii (true, false,
-      false, true, false, true, true, false)), (String ((Ascii (true, false,
-      true, false, false, true, true, false)), (String ((Ascii (false, false,
-      true, true, false, true, true, false)), (String ((Ascii (false, false,
-      true, false, false, true, true, false)),
-      EmptyString)))))))))))))))))))))))))) :: [])) :: ((mkcut (S (S (S (S (S
-                                                          (S (S (S (S (S (S
-                                                          (S (S (S (S (S (S
-                                                          (S (S (S (S (S (S
-                                                          (S (S (S (S (S (S
-                                                          (S (S (S (S (S (S
-                                                          (S (S (S (S (S (S
-                                                          (S (S (S (S (S (S
-                                                          (S (S (S (S (S (S
-                                                          (S (S (S (S (S (S
-                                                          (S (S (S (S (S (S
-                                                          (S (S (S (S (S (S
-                                                          (S (S (S (S (S (S
-                                                          (S (S (S (S (S (S
-                                                          (S (S (S (S (S (S
-                                                          (S
-                                                          O))))))))))))))))))))))))))))))))))))))))))))))))))))))))))))))))))))))))))))))))))))))))))
-                                                          (S (S (S (S (S (S
-                                                          (S (S (S (S (S (S
-                                                          (S (S (S (S (S (S
-                                                          (S (S (S (S (S (S
-                                                          (S (S (S (S (S (S
-                                                          (S (S (S (S (S (S
-                                                          (S (S (S (S (S (S
-                                                          (S (S (S (S (S (S
-                                                          (S (S (S (S (S (S
-                                                          (S (S (S (S (S (S
-                                                          (S (S (S (S (S (S
-                                                          (S (S (S (S (S (S
-                                                          (S (S (S (S (S (S
-                                                          (S (S (S (S (S (S
-                                                          (S (S (S (S (S (S
-                                                          (S (S (S (S
-                                                          O))))))))))))))))))))))))))))))))))))))))))))))))))))))))))))))))))))))))))))))))))))))))))))))
-                                                          (String ((Ascii
-                                                          (true, true, false,
-                                                          false, true, false,
-                                                          true, false)),
-                                                          (String ((Ascii
-                                                          (true, false, true,
-                                                          false, false, true,
-                                                          true, false)),
-                                                          (String ((Ascii
-                                                          (true, false,
-                                                          false, false, true,
-                                                          true, true,
-                                                          false)), (String
-                                                          ((Ascii (true,
-                                                          false, true, false,
-                                                          true, true, true,
-                                                          false)), (String
-                                                          ((Ascii (true,
-                                                          false, true, false,
-                                                          false, true, true,
-                                                          false)), (String
-                                                          ((Ascii (false,
-                                                          true, true, true,
-                                                          false, true, true,
-                                                          false)), (String
-                                                          ((Ascii (true,
-                                                          true, false, false,
-                                                          false, true, true,
-                                                          false)), (String
-                                                          ((Ascii (true,
-                                                          false, true, false,
-                                                          false, true, true,
-                                                          false)), (String
-                                                          ((Ascii (false,
-                                                          true, true, true,
-                                                          false, false, true,
-                                                          false)), (String
-                                                          ((Ascii (true,
-                                                          false, true, false,
-                                                          true, true, true,
-                                                          false)), (String
-                                                          ((Ascii (true,
-                                                          false, true, true,
-                                                          false, true, true,
-                                                          false)), (String
-                                                          ((Ascii (false,
-                                                          true, false, false,
-                                                          false, true, true,
-                                                          false)), (String
-                                                          ((Ascii (true,
-                                                          false, true, false,
-                                                          false, true, true,
-                                                          false)), (String
-                                                          ((Ascii (false,
-                                                          true, false, false,
-                                                          true, true, true,
-                                                          false)),
-                                                          EmptyString))))))))))))))))))))))))))))
-                                                          ((String ((Ascii
-                                                          (false, false,
-                                                          false, false, true,
-                                                          true, true,
-                                                          false)), (String
-                                                          ((Ascii (true,
-                                                          false, false,
-                                                          false, false, true,
-                                                          true, false)),
-                                                          (String ((Ascii
-                                                          (false, true,
-                                                          false, false, true,
-                                                          true, true,
-                                                          false)), (String
-                                                          ((Ascii (true,
-                                                          true, false, false,
-                                                          true, true, true,
-                                                          false)), (String
-                                                          ((Ascii (true,
-                                                          false, true, false,
-                                                          false, true, true,
-                                                          false)), (String
-                                                          ((Ascii (false,
-                                                          true, true, true,
-                                                          false, false, true,
-                                                          false)), (String
-                                                          ((Ascii (true,
-                                                          false, true, false,
-                                                          true, true, true,
-                                                          false)), (String
-                                                          ((Ascii (true,
-                                                          false, true, true,
-                                                          false, true, true,
-                                                          false)), (String
-                                                          ((Ascii (false,
-                                                          true, true, false,
-                                                          false, false, true,
-                                                          false)), (String
-                                                          ((Ascii (true,
-                                                          false, false, true,
-                                                          false, true, true,
-                                                          false)), (String
-                                                          ((Ascii (true,
-                                                          false, true, false,
-                                                          false, true, true,
-                                                          false)), (String
-                                                          ((Ascii (false,
-                                                          false, true, true,
-                                                          false, true, true,
-                                                          false)), (String
-                                                          ((Ascii (false,
-                                                          false, true, false,
-                                                          false, true, true,
-                                                          false)),
-                                                          EmptyString)))))))))))))))))))))))))) :: [])) :: [])))))))))))))) }
-
-(** val l_ADVFileControl : layout **)
-
-let l_ADVFileControl =
-  { l_name = (String ((Ascii (true, false, false, false, false, false, true,
-    false)), (String ((Ascii (false, false, true, false, false, false, true,
-    false)), (String ((Ascii (false, true, true, false, true, false, true,
-    false)), (String ((Ascii (false, true, true, false, false, false, true,
-    false)), (String ((Ascii (true, false, false, true, false, true, true,
-    false)), (String ((Ascii (false, false, true, true, false, true, true,
-    false)), (String ((Ascii (true, false, true, false, false, true, true,
-    false)), (String ((Ascii (true, true, false, false, false, false, true,
-    false)), (String ((Ascii (true, true, true, true, false, true, true,
-    false)), (String ((Ascii (false, true, true, true, false, true, true,
-    false)), (String ((Ascii (false, false, true, false, true, true, true,
-    false)), (String ((Ascii (false, true, false, false, true, true, true,
-    false)), (String ((Ascii (true, true, true, true, false, true, true,
-    false)), (String ((Ascii (false, false, true, true, false, true, true,
-    false)), EmptyString)))))))))))))))))))))))))))); l_ix = IRune; l_segs =
-    ((SLit ((Npos (XI (XO (XO (XI (XI XH)))))) :: [])) :: ((SNum ((String
-    ((Ascii (false, true, false, false, false, false, true, false)), (String
-    ((Ascii (true, false, false, false, false, true, true, false)), (String
-    ((Ascii (false, false, true, false, true, true, true, false)), (String
-    ((Ascii (true, true, false, false, false, true, true, false)), (String
-    ((Ascii (false, false, false, true, false, true, true, false)), (String
-    ((Ascii (true, true, false, false, false, false, true, false)), (String
-    ((Ascii (true, true, true, true, false, true, true, false)), (String
-    ((Ascii (true, false, true, false, true, true, true, false)), (String
-    ((Ascii (false, true, true, true, false, true, true, false)), (String
-    ((Ascii (false, false, true, false, true, true, true, false)),
-    EmptyString)))))))))))))))))))), (S (S (S (S (S (S O)))))))) :: ((SNum
-    ((String ((Ascii (false, true, false, false, false, false, true, false)),
-    (String ((Ascii (false, false, true, true, false, true, true, false)),
-    (String ((Ascii (true, true, true, true, false, true, true, false)),
-    (String ((Ascii (true, true, false, false, false, true, true, false)),
-    (String ((Ascii (true, true, false, true, false, true, true, false)),
-    (String ((Ascii (true, true, false, false, false, false, true, false)),
-    (String ((Ascii (true, true, true, true, false, true, true, false)),
-    (String ((Ascii (true, false, true, false, true, true, true, false)),
-    (String ((Ascii (false, true, true, true, false, true, true, false)),
-    (String ((Ascii (false, false, true, false, true, true, true, false)),
-    EmptyString)))))))))))))))))))), (S (S (S (S (S (S O)))))))) :: ((SNum
-    ((String ((Ascii (true, false, true, false, false, false, true, false)),
-    (String ((Ascii (false, true, true, true, false, true, true, false)),
-    (String ((Ascii (false, false, true, false, true, true, true, false)),
-    (String ((Ascii (false, true, false, false, true, true, true, false)),
-    (String ((Ascii (true, false, false, true, true, true, true, false)),
-    (String ((Ascii (true, false, false, false, false, false, true, false)),
-    (String ((Ascii (false, false, true, false, false, true, true, false)),
-    (String ((Ascii (false, false, true, false, false, true, true, false)),
-    (String ((Ascii (true, false, true, false, false, true, true, false)),
-    (String ((Ascii (false, true, true, true, false, true, true, false)),
-    (String ((Ascii (false, false, true, false, false, true, true, false)),
-    (String ((Ascii (true, false, false, false, false, true, true, false)),
-    (String ((Ascii (true, true, false, false, false, false, true, false)),
-    (String ((Ascii (true, true, true, true, false, true, true, false)),
-    (String ((Ascii (true, false, true, false, true, true, true, false)),
-    (String ((Ascii (false, true, true, true, false, true, true, false)),
-    (String ((Ascii (false, false, true, false, true, true, true, false)),
-    EmptyString)))))))))))))))))))))))))))))))))), (S (S (S (S (S (S (S (S
-    O)))))))))) :: ((SNum ((String ((Ascii (true, false, true, false, false,
-    false, true, false)), (String ((Ascii (false, true, true, true, false,
-    true, true, false)), (String ((Ascii (false, false, true, false, true,
-    true, true, false)), (String ((Ascii (false, true, false, false, true,
-    true, true, false)), (String ((Ascii (true, false, false, true, true,
-    true, true, false)), (String ((Ascii (false, false, false, true, false,
-    false, true, false)), (String ((Ascii (true, false, false, false, false,
-    true, true, false)), (String ((Ascii (true, true, false, false, true,
-    true, true, false)), (String ((Ascii (false, false, false, true, false,
-    true, true, false)), EmptyString)))))))))))))))))), (S (S (S (S (S (S (S
-    (S (S (S O)))))))))))) :: ((SNum ((String ((Ascii (false, false, true,
-    false, true, false, true, false)), (String ((Ascii (true, true, true,
-    true, false, true, true, false)), (String ((Ascii (false, false, true,
-    false, true, true, true, false)), (String ((Ascii (true, false, false,
-    false, false, true, true, false)), (String ((Ascii (false, false, true,
-    true, false, true, true, false)), (String ((Ascii (false, false, true,
-    false, false, false, true, false)), (String ((Ascii (true, false, true,
-    false, false, true, true, false)), (String ((Ascii (false, true, false,
-    false, false, true, true, false)), (String ((Ascii (true, false, false,
-    true, false, true, true, false)), (String ((Ascii (false, false, true,
-    false, true, true, true, false)), (String ((Ascii (true, false, true,
-    false, false, false, true, false)), (String ((Ascii (false, true, true,
-    true, false, true, true, false)), (String ((Ascii (false, false, true,
-    false, true, true, true, false)), (String ((Ascii (false, true, false,
-    false, true, true, true, false)), (String ((Ascii (true, false, false,
-    true, true, true, true, false)), (String ((Ascii (false, false, true,
-    false, false, false, true, false)), (String ((Ascii (true, true, true,
-    true, false, true, true, false)), (String ((Ascii (false, false, true,
-    true, false, true, true, false)), (String ((Ascii (false, false, true,
-    true, false, true, true, false)), (String ((Ascii (true, false, false,
-    false, false, true, true, false)), (String ((Ascii (false, true, false,
-    false, true, true, true, false)), (String ((Ascii (true, false, false,
-    false, false, false, true, false)), (String ((Ascii (true, false, true,
-    true, false, true, true, false)), (String ((Ascii (true, true, true,
-    true, false, true, true, false)), (String ((Ascii (true, false, true,
-    false, true, true, true, false)), (String ((Ascii (false, true, true,
-    true, false, true, true, false)), (String ((Ascii (false, false, true,
-    false, true, true, true, false)), (String ((Ascii (true, false, false,
-    true, false, false, true, false)), (String ((Ascii (false, true, true,
-    true, false, true, true, false)), (String ((Ascii (false, true, true,
-    false, false, false, true, false)), (String ((Ascii (true, false, false,
-    true, false, true, true, false)), (String ((Ascii (false, false, true,
-    true, false, true, true, false)), (String ((Ascii (true, false, true,
-    false, false, true, true, false)),
-    EmptyString)))))))))))))))))))))))))))))))))))))))))))))))))))))))))))))))))),
-    (S (S (S (S (S (S (S (S (S (S (S (S (S (S (S (S (S (S (S (S
-    O)))))))))))))))))))))) :: ((SNum ((String ((Ascii (false, false, true,
-    false, true, false, true, false)), (String ((Ascii (true, true, true,
-    true, false, true, true, false)), (String ((Ascii (false, false, true,
-    false, true, true, true, false)), (String ((Ascii (true, false, false,
-    false, false, true, true, false)), (String ((Ascii (false, false, true,
-    true, false, true, true, false)), (String ((Ascii (true, true, false,
-    false, false, false, true, false)), (String ((Ascii (false, true, false,
-    false, true, true, true, false)), (String ((Ascii (true, false, true,
-    false, false, true, true, false)), (String ((Ascii (false, false, true,
-    false, false, true, true, false)), (String ((Ascii (true, false, false,
-    true, false, true, true, false)), (String ((Ascii (false, false, true,
-    false, true, true, true, false)), (String ((Ascii (true, false, true,
-    false, false, false, true, false)), (String ((Ascii (false, true, true,
-    true, false, true, true, false)), (String ((Ascii (false, false, true,
-    false, true, true, true, false)), (String ((Ascii (false, true, false,
-    false, true, true, true, false)), (String ((Ascii (true, false, false,
-    true, true, true, true, false)), (String ((Ascii (false, false, true,
-    false, false, false, true, false)), (String ((Ascii (true, true, true,
-    true, false, true, true, false)), (String ((Ascii (false, false, true,
-    true, false, true, true, false)), (String ((Ascii (false, false, true,
-    true, false, true, true, false)), (String ((Ascii (true, false, false,
-    false, false, true, true, false)), (String ((Ascii (false, true, false,
-    false, true, true, true, false)), (String ((Ascii (true, false, false,
-    false, false, false, true, false)), (String ((Ascii (true, false, true,
-    true, false, true, true, false)), (String ((Ascii (true, true, true,
-    true, false, true, true, false)), (String ((Ascii (true, false, true,
-    false, true, true, true, false)), (String ((Ascii (false, true, true,
-    true, false, true, true, false)), (String ((Ascii (false, false, true,
-    false, true, true, true, false)), (String ((Ascii (true, false, false,
-    true, false, false, true, false)), (String ((Ascii (false, true, true,
-    true, false, true, true, false)), (String ((Ascii (false, true, true,
-    false, false, false, true, false)), (String ((Ascii (true, false, false,
-    true, false, true, true, false)), (String ((Ascii (false, false, true,
-    true, false, true, true, false)), (String ((Ascii (true, false, true,
-    false, false, true, true, false)),
-    EmptyString)))))))))))))))))))))))))))))))))))))))))))))))))))))))))))))))))))),
-    (S (S (S (S (S (S (S (S (S (S (S (S (S (S (S (S (S (S (S (S
-    O)))))))))))))))))))))) :: ((SLit ((Npos (XO (XO (XO (XO (XO
-    XH)))))) :: ((Npos (XO (XO (XO (XO (XO XH)))))) :: ((Npos (XO (XO (XO (XO
-    (XO XH)))))) :: ((Npos (XO (XO (XO (XO (XO XH)))))) :: ((Npos (XO (XO (XO
-    (XO (XO XH)))))) :: ((Npos (XO (XO (XO (XO (XO XH)))))) :: ((Npos (XO (XO
-    (XO (XO (XO XH)))))) :: ((Npos (XO (XO (XO (XO (XO XH)))))) :: ((Npos (XO
-    (XO (XO (XO (XO XH)))))) :: ((Npos (XO (XO (XO (XO (XO XH)))))) :: ((Npos
-    (XO (XO (XO (XO (XO XH)))))) :: ((Npos (XO (XO (XO (XO (XO
-    XH)))))) :: ((Npos (XO (XO (XO (XO (XO XH)))))) :: ((Npos (XO (XO (XO (XO
-    (XO XH)))))) :: ((Npos (XO (XO (XO (XO (XO XH)))))) :: ((Npos (XO (XO (XO
-    (XO (XO XH)))))) :: ((Npos (XO (XO (XO (XO (XO XH)))))) :: ((Npos (XO (XO
-    (XO (XO (XO XH)))))) :: ((Npos (XO (XO (XO (XO (XO XH)))))) :: ((Npos (XO
-    (XO (XO (XO (XO XH)))))) :: ((Npos (XO (XO (XO (XO (XO XH)))))) :: ((Npos
-    (XO (XO (XO (XO (XO XH)))))) :: ((Npos (XO (XO (XO (XO (XO
-    XH)))))) :: [])))))))))))))))))))))))) :: [])))))))); l_cuts =
-    ((mkcut (S O) (S (S (S (S (S (S (S O))))))) (String ((Ascii (false, true,
-       false, false, false, false, true, false)), (String ((Ascii (true,
-       false, false, false, false, true, true, false)), (String ((Ascii
-       (false, false, true, false, true, true, true, false)), (String ((Ascii
-       (true, true, false, false, false, true, true, false)), (String ((Ascii
-       (false, false, false, true, false, true, true, false)), (String
-       ((Ascii (true, true, false, false, false, false, true, false)),
-       (String ((Ascii (true, true, true, true, false, true, true, false)),
-       (String ((Ascii (true, false, true, false, true, true, true, false)),
-       (String ((Ascii (false, true, true, true, false, true, true, false)),
-       (String ((Ascii (false, false, true, false, true, true, true, false)),
-       EmptyString)))))))))))))))))))) ((String ((Ascii (false, false, false,
-       false, true, true, true, false)), (String ((Ascii (true, false, false,
-       false, false, true, true, false)), (String ((Ascii (false, true,
-       false, false, true, true, true, false)), (String ((Ascii (true, true,
-       false, false, true, true, true, false)), (String ((Ascii (true, false,
-       true, false, false, true, true, false)), (String ((Ascii (false, true,
-       true, true, false, false, true, false)), (String ((Ascii (true, false,
-       true, false, true, true, true, false)), (String ((Ascii (true, false,
-       true, true, false, true, true, false)), (String ((Ascii (false, true,
-       true, false, false, false, true, false)), (String ((Ascii (true,
-       false, false, true, false, true, true, false)), (String ((Ascii (true,
-       false, true, false, false, true, true, false)), (String ((Ascii
-       (false, false, true, true, false, true, true, false)), (String ((Ascii
-       (false, false, true, false, false, true, true, false)),
-       EmptyString)))))))))))))))))))))))))) :: [])) :: ((mkcut (S (S (S (S
-                                                           (S (S (S O)))))))
-                                                           (S (S (S (S (S (S
-                                                           (S (S (S (S (S (S
-                                                           (S O)))))))))))))
-                                                           (String ((Ascii
-                                                           (false, true,
-                                                           false, false,
-                                                           false, false,
-                                                           true, false)),
-                                                           (String ((Ascii
-                                                           (false, false,
-                                                           true, true, false,
-                                                           true, true,
-                                                           false)), (String
-                                                           ((Ascii (true,
-                                                           true, true, true,
-                                                           false, true, true,
-                                                           false)), (String
-                                                           ((Ascii (true,
-                                                           true, false,
-                                                           false, false,
-                                                           true, true,
-                                                           false)), (String
-                                                           ((Ascii (true,
-                                                           true, false, true,
-                                                           false, true, true,
-                                                           false)), (String
-                                                           ((Ascii (true,
-                                                           true, false,
-                                                           false, false,
-                                                           false, true,
-                                                           false)), (String
-                                                           ((Ascii (true,
-                                                           true, true, true,
-                                                           false, true, true,
-                                                           false)), (String
-                                                           ((Ascii (true,
-                                                           false, true,
-                                                           false, true, true,
-                                                           true, false)),
-                                                           (String ((Ascii
-                                                           (false, true,
-                                                           true, true, false,
-                                                           true, true,
-                                                           false)), (String
-                                                           ((Ascii (false,
-                                                           false, true,
-                                                           false, true, true,
-                                                           true, false)),
-                                                           EmptyString))))))))))))))))))))
-                                                           ((String ((Ascii
-                                                           (false, false,
-                                                           false, false,
-                                                           true, true, true,
-                                                           false)), (String
-                                                           ((Ascii (true,
-                                                           false, false,
-                                                           false, false,
-                                                           true, true,
-                                                           false)), (String
-                                                           ((Ascii (false,
-                                                           true, false,
-                                                           false, true, true,
-                                                           true, false)),
-                                                           (String ((Ascii
-                                                           (true, true,
-                                                           false, false,
-                                                           true, true, true,
-                                                           false)), (String
-                                                           ((Ascii (true,
-                                                           false, true,
-                                                           false, false,
-                                                           true, true,
-                                                           false)), (String
-                                                           ((Ascii (false,
-                                                           true, true, true,
-                                                           false, false,
-                                                           true, false)),
-                                                           (String ((Ascii
-                                                           (true, false,
-                                                           true, false, true,
-                                                           true, true,
-                                                           false)), (String
-                                                           ((Ascii (true,
-                                                           false, true, true,
-                                                           false, true, true,
-                                                           false)), (String
-                                                           ((Ascii (false,
-                                                           true, true, false,
-                                                           false, false,
-                                                           true, false)),
-                                                           (String ((Ascii
-                                                           (true, false,
-                                                           false, true,
-                                                           false, true, true,
-                                                           false)), (String
-                                                           ((Ascii (true,
-                                                           false, true,
-                                                           false, false,
-                                                           true, true,
-                                                           false)), (String
-                                                           ((Ascii (false,
-                                                           false, true, true,
-                                                           false, true, true,
-                                                           false)), (String
-                                                           ((Ascii (false,
-                                                           false, true,
-                                                           false, false,
-                                                           true, true,
-                                                           false)),
-                                                           EmptyString)))))))))))))))))))))))))) :: [])) :: (
-    (mkcut (S (S (S (S (S (S (S (S (S (S (S (S (S O))))))))))))) (S (S (S (S
-      (S (S (S (S (S (S (S (S (S (S (S (S (S (S (S (S (S
-      O))))))))))))))))))))) (String ((Ascii (true, false, true, false,
-      false, false, true, false)), (String ((Ascii (false, true, true, true,
-      false, true, true, false)), (String ((Ascii (false, false, true, false,
-      true, true, true, false)), (String ((Ascii (false, true, false, false,
-      true, true, true, false)), (String ((Ascii (true, false, false, true,
-      true, true, true, false)), (String ((Ascii (true, false, false, false,
-      false, false, true, false)), (String ((Ascii (false, false, true,
-      false, false, true, true, false)), (String ((Ascii (false, false, true,
-      false, false, true, true, false)), (String ((Ascii (true, false, true,
-      false, false, true, true, false)), (String ((Ascii (false, true, true,
-      true, false, true, true, false)), (String ((Ascii (false, false, true,
-      false, false, true, true, false)), (String ((Ascii (true, false, false,
-      false, false, true, true, false)), (String ((Ascii (true, true, false,
-      false, false, false, true, false)), (String ((Ascii (true, true, true,
-      true, false, true, true, false)), (String ((Ascii (true, false, true,
-      false, true, true, true, false)), (String ((Ascii (false, true, true,
-      true, false, true, true, false)), (String ((Ascii (false, false, true,
-      false, true, true, true, false)),
-      EmptyString)))))))))))))))))))))))))))))))))) ((String ((Ascii (false,
-      false, false, false, true, true, true, false)), (String ((Ascii (true,
-      false, false, false, false, true, true, false)), (String ((Ascii
-      (false, true, false, false, true, true, true, false)), (String ((Ascii
-      (true, true, false, false, true, true, true, false)), (String ((Ascii
-      (true, false, true, false, false, true, true, false)), (String ((Ascii
-      (false, true, true, true, false, false, true, false)), (String ((Ascii
-      (true, false, true, false, true, true, true, false)), (String ((Ascii
-      (true, false, true, true, false, true, true, false)), (String ((Ascii
-      (false, true, true, false, false, false, true, false)), (String ((Ascii
-      (true, false, false, true, false, true, true, false)), (String ((Ascii
-      (true, false, true, false, false, true, true, false)), (String ((Ascii
-      (false, false, true, true, false, true, true, false)), (String ((Ascii
-      (false, false, true, false, false, true, true, false)),
-      EmptyString)))))))))))))))))))))))))) :: [])) :: ((mkcut (S (S (S (S (S
-                                                          (S (S (S (S (S (S
-                                                          (S (S (S (S (S (S
-                                                          (S (S (S (S
-                                                          O)))))))))))))))))))))
-                                                          (S (S (S (S (S (S
-                                                          (S (S (S (S (S (S
-                                                          (S (S (S (S (S (S
-                                                          (S (S (S (S (S (S
-                                                          (S (S (S (S (S (S
-                                                          (S
-                                                          O)))))))))))))))))))))))))))))))
-                                                          (String ((Ascii
-                                                          (true, false, true,
-                                                          false, false,
-                                                          false, true,
-                                                          false)), (String
-                                                          ((Ascii (false,
-                                                          true, true, true,
-                                                          false, true, true,
-                                                          false)), (String
-                                                          ((Ascii (false,
-                                                          false, true, false,
-                                                          true, true, true,
-                                                          false)), (String
-                                                          ((Ascii (false,
-                                                          true, false, false,
-                                                          true, true, true,
-                                                          false)), (String
-                                                          ((Ascii (true,
-                                                          false, false, true,
-                                                          true, true, true,
-                                                          false)), (String
-                                                          ((Ascii (false,
-                                                          false, false, true,
-                                                          false, false, true,
-                                                          false)), (String
-                                                          ((Ascii (true,
-                                                          false, false,
-                                                          false, false, true,
-                                                          true, false)),
-                                                          (String ((Ascii
-                                                          (true, true, false,
-                                                          false, true, true,
-                                                          true, false)),
-                                                          (String ((Ascii
-                                                          (false, false,
-                                                          false, true, false,
-                                                          true, true,
-                                                          false)),
-                                                          EmptyString))))))))))))))))))
-                                                          ((String ((Ascii
-                                                          (false, false,
-                                                          false, false, true,
-                                                          true, true,
-                                                          false)), (String
-                                                          ((Ascii (true,
-                                                          false, false,
-                                                          false, false, true,
-                                                          true, false)),
-                                                          (String ((Ascii
-                                                          (false, true,
-                                                          false, false, true,
-                                                          true, true,
-                                                          false)), (String
-                                                          ((Ascii (true,
-                                                          true, false, false,
-                                                          true, true, true,
-                                                          false)), (String
-                                                          ((Ascii (true,
-                                                          false, true, false,
-                                                          false, true, true,
-                                                          false)), (String
-                                                          ((Ascii (false,
-                                                          true, true, true,
-                                                          false, false, true,
-                                                          false)), (String
-                                                          ((Ascii (true,
-                                                          false, true, false,
-                                                          true, true, true,
-                                                          false)), (String
-                                                          ((Ascii (true,
-                                                          false, true, true,
-                                                          false, true, true,
-                                                          false)), (String
-                                                          ((Ascii (false,
-                                                          true, true, false,
-                                                          false, false, true,
-                                                          false)), (String
-                                                          ((Ascii (true,
-                                                          false, false, true,
-                                                          false, true, true,
-                                                          false)), (String
-                                                          ((Ascii (true,
-                                                          false, true, false,
-                                                          false, true, true,
-                                                          false)), (String
-                                                          ((Ascii (false,
-                                                          false, true, true,
-                                                          false, true, true,
-                                                          false)), (String
-                                                          ((Ascii (false,
-                                                          false, true, false,
-                                                          false, true, true,
-                                                          false)),
-                                                          EmptyString)))))))))))))))))))))))))) :: [])) :: (
-    (mkcut (S (S (S (S (S (S (S (S (S (S (S (S (S (S (S (S (S (S (S (S (S (S
-      (S (S (S (S (S (S (S (S (S O))))))))))))))))))))))))))))))) (S (S (S (S
-      (S (S (S (S (S (S (S (S (S (S (S (S (S (S (S (S (S (S (S (S (S (S (S (S
-      (S (S (S (S (S (S (S (S (S (S (S (S (S (S (S (S (S (S (S (S (S (S (S
-      O))))))))))))))))))))))))))))))))))))))))))))))))))) (String ((Ascii
-      (false, false, true, false, true, false, true, false)), (String ((Ascii
-      (true, true, true, true, false, true, true, false)), (String ((Ascii
-      (false, false, true, false, true, true, true, false)), (String ((Ascii
-      (true, false, false, false, false, true, true, false)), (String ((Ascii
-      (false, false, true, true, false, true, true, false)), (String ((Ascii
-      (false, false, true, false, false, false, true, false)), (String
-      ((Ascii (true, false, true, false, false, true, true, false)), (String
-      ((Ascii (false, true, false, false, false, true, true, false)), (String
-      ((Ascii (true, false, false, true, false, true, true, false)), (String
-      ((Ascii (false, false, true, false, true, true, true, false)), (String
-      ((Ascii (true, false, true, false, false, false, true, false)), (String
-      ((Ascii (false, true, true, true, false, true, true, false)), (String
-      ((Ascii (false, false, true, false, true, true, true, false)), (String
-      ((Ascii (false, true, false, false, true, true, true, false)), (String
-      ((Ascii (true, false, false, true, true, true, true, false)), (String
-      ((Ascii (false, false, true, false, false, false, true, false)),
-      (String ((Ascii (true, true, true, true, false, true, true, false)),
-      (String ((Ascii (false, false, true, true, false, true, true, false)),
-      (String ((Ascii (false, false, true, true, false, true, true, false)),
-      (String ((Ascii (true, false, false, false, false, true, true, false)),
-      (String ((Ascii (false, true, false, false, true, true, true, false)),
-      (String ((Ascii (true, false, false, false, false, false, true,
-      false)), (String ((Ascii (true, false, true, true, false, true, true,
-      false)), (String ((Ascii (true, true, true, true, false, true, true,
-      false)), (String ((Ascii (true, false, true, false, true, true, true,
-      false)), (String ((Ascii (false, true, true, true, false, true, true,
-      false)), (String ((Ascii (false, false, true, false, true, true, true,
-      false)), (String ((Ascii (true, false, false, true, false, false, true,
-      false)), (String ((Ascii (false, true, true, true, false, true, true,
-      false)), (String ((Ascii (false, true, true, false, false, false, true,
-      false)), (String ((Ascii (true, false, false, true, false, true, true,
-      false)), (String ((Ascii (false, false, true, true, false, true, true,
-      false)), (String ((Ascii (true, false, true, false, false, true, true,
-      false)),
-      EmptyString))))))))))))))))))))))))))))))))))))))))))))))))))))))))))))))))))
-      ((String ((Ascii (false, false, false, false, true, true, true,
-      false)), (String ((Ascii (true, false, false, false, false, true, true,
-      false)), (String ((Ascii (false, true, false, false, true, true, true,
-      false)), (String ((Ascii (true, true, false, false, true, true, true,
-      false)), (String ((Ascii (true, false, true, false, false, true, true,
-      false)), (String ((Ascii (false, true, true, true, false, false, true,
-      false)), (String ((Ascii (true, false, true, false, true, true, true,
-      false)), (String ((Ascii (true, false, true, true, false, true, true,
-      false)), (String ((Ascii (false, true, true, false, false, false, true,
-      false)), (String ((Ascii (true, false, false, true, false, true, true,
-      false)), (String ((Ascii (true, false, true, false, false, true, true,
-      false)), (String ((Ascii (false, false, true, true, false, true, true,
-      false)), (String ((Ascii (false, false, true, false, false, true, true,
-      false)), EmptyString)))))))))))))))))))))))))) :: [])) :: ((mkcut (S (S
-                                                                   (S (S (S
-                                                                   (S (S (S
-                                                                   (S (S (S
-                                                                   (S (S (S
-                                                                   (S (S (S
-                                                                   (S (S (S
-                                                                   (S (S (S
-                                                                   (S (S (S
-                                                                   (S (S (S
-                                                                   (S (S (S
-                                                                   (S (S (S
-                                                                   (S (S (S
-                                                                   (S (S (S
-                                                                   (S (S (S
-                                                                   (S (S (S
-                                                                   (S (S (S
-                                                                   (S
-                                                                   O)))))))))))))))))))))))))))))))))))))))))))))))))))
-                                                                   (S (S (S
-                                                                   (S (S (S
-                                                                   (S (S (S
-                                                                   (S (S (S
-                                                                   (S (S (S
-                                                                   (S (S (S
-                                                                   (S (S (S
-                                                                   (S (S (S
-                                                                   (S (S (S
-                                                                   (S (S (S
-                                                                   (S (S (S
-                                                                   (S (S (S
-                                                                   (S (S (S
-                                                                   (S (S (S
-                                                                   (S (S (S
-                                                                   (S (S (S
-                                                                   (S (S (S
-                                                                   (S (S (S
-                                                                   (S (S (S
-                                                                   (S (S (S
-                                                                   (S (S (S
-                                                                   (S (S (S
-                                                                   (S (S (S
-                                                                   (S (S
-                                                                   O)))))))))))))))))))))))))))))))))))))))))))))))))))))))))))))))))))))))
-                                                                   (String
-                                                                   ((Ascii
-                                                                   (false,
-                                                                   false,
-                                                                   true,
-                                                                   false,
-                                                                   true,
-                                                                   false,
-                                                                   true,
-                                                                   false)),
-                                                                   (String
-                                                                   ((Ascii
-                                                                   (true,
-                                                                   true,
-                                                                   true,
-                                                                   true,
-                                                                   false,
-                                                                   true,
-                                                                   true,
-                                                                   false)),
-                                                                   (String
-                                                                   ((Ascii
-                                                                   (false,
-                                                                   false,
-                                                                   true,
-                                                                   false,
-                                                                   true,
-                                                                   true,
-                                                                   true,
-                                                                   false)),
-                                                                   (String
-                                                                   ((Ascii
-                                                                   (true,
-                                                                   false,
-                                                                   false,
-                                                                   false,
-                                                                   false,
-                                                                   true,
-                                                                   true,
-                                                                   false)),
-                                                                   (String
-                                                                   ((Ascii
-                                                                   (false,
-                                                                   false,
-                                                                   true,
-                                                                   true,
-                                                                   false,
-                                                                   true,
-                                                                   true,
-                                                                   false)),
-                                                                   (String
-                                                                   ((Ascii
-                                                                   (true,
-                                                                   true,
-                                                                   false,
-                                                                   false,
-                                                                   false,
-                                                                   false,
-                                                                   true,
-                                                                   false)),
-                                                                   (String
-                                                                   ((Ascii
-                                                                   (false,
-                                                                   true,
-                                                                   false,
-                                                                   false,
-                                                                   true,
-                                                                   true,
-                                                                   true,
-                                                                   false)),
-                                                                   (String
-                                                                   ((Ascii
-                                                                   (true,
-                                                                   false,
-                                                                   true,
-                                                                   false,
-                                                                   false,
-                                                                   true,
-                                                                   true,
-                                                                   false)),
-                                                                   (String
-                                                                   ((Ascii
-                                                                   (false,
-                                                                   false,
-                                                                   true,
-                                                                   false,
-                                                                   false,
-                                                                   true,
-                                                                   true,
-                                                                   false)),
-                                                                   (String
-                                                                   ((Ascii
-                                                                   (true,
-                                                                   false,
-                                                                   false,
-                                                                   true,
-                                                                   false,
-                                                                   true,
-                                                                   true,
-                                                                   false)),
-                                                                   (String
-                                                                   ((Ascii
-                                                                   (false,
-                                                                   false,
-                                                                   true,
-                                                                   false,
-                                                                   true,
-                                                                   true,
-                                                                   true,
-                                                                   false)),
-                                                                   (String
-                                                                   ((Ascii
-                                                                   (true,
-                                                                   false,
-                                                                   true,
-                                                                   false,
-                                                                   false,
-                                                                   false,
-                                                                   true,
-                                                                   false)),
-                                                                   (String
-                                                                   ((Ascii
-                                                                   (false,
-                                                                   true,
-                                                                   true,
-                                                                   true,
-                                                                   false,
-                                                                   true,
-                                                                   true,
-                                                                   false)),
-                                                                   (String
-                                                                   ((Ascii
-                                                                   (false,
-                                                                   false,
-                                                                   true,
-                                                                   false,
-                                                                   true,
-                                                                   true,
-                                                                   true,
-                                                                   false)),
-                                                                   (String
-                                                                   ((Ascii
-                                                                   (false,
-                                                                   true,
-                                                                   false,
-                                                                   false,
-                                                                   true,
-                                                                   true,
-                                                                   true,
-                                                                   false)),
-                                                                   (String
-                                                                   ((Ascii
-                                                                   (true,
-                                                                   false,
-                                                                   false,
-                                                                   true,
-                                                                   true,
-                                                                   true,
-                                                                   true,
-                                                                   false)),
-                                                                   (String
-                                                                   ((Ascii
-                                                                   (false,
-                                                                   false,
-                                                                   true,
-                                                                   false,
-                                                                   false,
-                                                                   false,
-                                                                   true,
-                                                                   false)),
-                                                                   (String
-                                                                   ((Ascii
-                                                                   (true,
-                                                                   true,
-                                                                   true,
-                                                                   true,
-                                                                   false,
-                                                                   true,
-                                                                   true,
-                                                                   false)),
-                                                                   (String
-                                                                   ((Ascii
-                                                                   (false,
-                                                                   false,
-                                                                   true,
-                                                                   true,
-                                                                   false,
-                                                                   true,
-                                                                   true,
-                                                                   false)),
-                                                                   (String
-                                                                   ((Ascii
-                                                                   (false,
-                                                                   false,
-                                                                   true,
-                                                                   true,
-                                                                   false,
-                                                                   true,
-                                                                   true,
-                                                                   false)),
-                                                                   (String
-                                                                   ((Ascii
-                                                                   (true,
-                                                                   false,
-                                                                   false,
-                                                                   false,
-                                                                   false,
-                                                                   true,
-                                                                   true,
-                                                                   false)),
-                                                                   (String
-                                                                   ((Ascii
-                                                                   (false,
-                                                                   true,
-                                                                   false,
-                                                                   false,
-                                                                   true,
-                                                                   true,
-                                                                   true,
-                                                                   false)),
-                                                                   (String
-                                                                   ((Ascii
-                                                                   (true,
-                                                                   false,
-                                                                   false,
-                                                                   false,
-                                                                   false,
-                                                                   false,
-                                                                   true,
-                                                                   false)),
-                                                                   (String
-                                                                   ((Ascii
-                                                                   (true,
-                                                                   false,
-                                                                   true,
-                                                                   true,
-                                                                   false,
-                                                                   true,
-                                                                   true,
-                                                                   false)),
-                                                                   (String
-                                                                   ((Ascii
-                                                                   (true,
-                                                                   true,
-                                                                   true,
-                                                                   true,
-                                                                   false,
-                                                                   true,
-                                                                   true,
-                                                                   false)),
-                                                                   (String
-                                                                   ((Ascii
-                                                                   (true,
-                                                                   false,
-                                                                   true,
-                                                                   false,
-                                                                   true,
-                                                                   true,
-                                                                   true,
-                                                                   false)),
-                                                                   (String
-                                                                   ((Ascii
-                                                                   (false,
-                                                                   true,
-                                                                   true,
-                                                                   true,
-                                                                   false,
-                                                                   true,
-                                                                   true,
-                                                                   false)),
-                                                                   (String
-                                                                   ((Ascii
-                                                                   (false,
-                                                                   false,
-                                                                   true,
-                                                                   false,
-                                                                   true,
-                                                                   true,
-                                                                   true,
-                                                                   false)),
-                                                                   (String
-                                                                   ((Ascii
-                                                                   (true,
-                                                                   false,
-                                                                   false,
-                                                                   true,
-                                                                   false,
-                                                                   false,
-                                                                   true,
-                                                                   false)),
-                                                                   (String
-                                                                   ((Ascii
-                                                                   (false,
-                                                                   true,
-                                                                   true,
-                                                                   true,
-                                                                   false,
-                                                                   true,
-                                                                   true,
-                                                                   false)),
-                                                                   (String
-                                                                   ((Ascii
-                                                                   (false,
-                                                                   true,
-                                                                   true,
-                                                                   false,
-                                                                   false,
-                                                                   false,
-                                                                   true,
-                                                                   false)),
-                                                                   (String
-                                                                   ((Ascii
-                                                                   (true,
-                                                                   false,
-                                                                   false,
-                                                                   true,
-                                                                   false,
-                                                                   true,
-                                                                   true,
-                                                                   false)),
-                                                                   (String
-                                                                   ((Ascii
-                                                                   (false,
-                                                                   false,
-                                                                   true,
-                                                                   true,
-                                                                   false,
-                                                                   true,
-                                                                   true,
-                                                                   false)),
-                                                                   (String
-                                                                   ((Ascii
-                                                                   (true,
-                                                                   false,
-                                                                   true,
-                                                                   false,
-                                                                   false,
-                                                                   true,
-                                                                   true,
-                                                                   false)),
-                                                                   EmptyString))))))))))))))))))))))))))))))))))))))))))))))))))))))))))))))))))))
-                                                                   ((String
-                                                                   ((Ascii
-                                                                   (false,
-                                                                   false,
-                                                                   false,
-                                                                   false,
-                                                                   true,
-                                                                   true,
-                                                                   true,
-                                                                   false)),
-                                                                   (String
-                                                                   ((Ascii
-                                                                   (true,
-                                                                   false,
-                                                                   false,
-                                                                   false,
-                                                                   false,
-                                                                   true,
-                                                                   true,
-                                                                   false)),
-                                                                   (String
-                                                                   ((Ascii
-                                                                   (false,
-                                                                   true,
-                                                                   false,
-                                                                   false,
-                                                                   true,
-                                                                   true,
-                                                                   true,
-                                                                   false)),
-                                                                   (String
-                                                                   ((Ascii
-                                                                   (true,
-                                                                   true,
-                                                                   false,
-                                                                   false,
-                                                                   true,
-                                                                   true,
-                                                                   true,
-                                                                   false)),
-                                                                   (String
-                                                                   ((Ascii
-                                                                   (true,
-                                                                   false,
-                                                                   true,
-                                                                   false,
-                                                                   false,
-                                                                   true,
-                                                                   true,
-                                                                   false)),
-                                                                   (String
-                                                                   ((Ascii
-                                                                   (false,
-                                                                   true,
-                                                                   true,
-                                                                   true,
-                                                                   false,
-                                                                   false,
-                                                                   true,
-                                                                   false)),
-                                                                   (String
-                                                                   ((Ascii
-                                                                   (true,
-                                                                   false,
-                                                                   true,
-                                                                   false,
-                                                                   true,
-                                                                   true,
-                                                                   true,
-                                                                   false)),
-                                                                   (String
-                                                                   ((Ascii
-                                                                   (true,
-                                                                   false,
-                                                                   true,
-                                                                   true,
-                                                                   false,
-                                                                   true,
-                                                                   true,
-                                                                   false)),
-                                                                   (String
-                                                                   ((Ascii
-                                                                   (false,
-                                                                   true,
-                                                                   true,
-                                                                   false,
-                                                                   false,
-                                                                   false,
-                                                                   true,
-                                                                   false)),
-                                                                   (String
-                                                                   ((Ascii
-                                                                   (true,
-                                                                   false,
-                                                                   false,
-                                                                   true,
-                                                                   false,
-                                                                   true,
-                                                                   true,
-                                                                   false)),
-                                                                   (String
-                                                                   ((Ascii
-                                                                   (true,
-                                                                   false,
-                                                                   true,
-                                                                   false,
-                                                                   false,
-                                                                   true,
-                                                                   true,
-                                                                   false)),
-                                                                   (String
-                                                                   ((Ascii
-                                                                   (false,
-                                                                   false,
-                                                                   true,
-                                                                   true,
-                                                                   false,
-                                                                   true,
-                                                                   true,
-                                                                   false)),
-                                                                   (String
-                                                                   ((Ascii
-                                                                   (false,
-                                                                   false,
-                                                                   true,
-                                                                   false,
-                                                                   false,
-                                                                   true,
-                                                                   true,
-                                                                   false)),
-                                                                   EmptyString)))))))))))))))))))))))))) :: [])) :: [])))))) }
-
-(** val l_Addenda02 : layout **)
-
-let l_Addenda02 =
-  { l_name = (String ((Ascii (true, false, false, false, false, false, true,
-    false)), (String ((Ascii (false, false, true, false, false, true, true,
-    false)), (String ((Ascii (false, false, true, false, false, true, true,
-    false)), (String ((Ascii (true, false, true, false, false, true, true,
-    false)), (String ((Ascii (false, true, true, true, false, true, true,
-    false)), (String ((Ascii (false, false, true, false, false, true, true,
-    false)), (String ((Ascii (true, false, false, false, false, true, true,
-    false)), (String ((Ascii (false, false, false, false, true, true, false,
-    false)), (String ((Ascii (false, true, false, false, true, true, false,
-    false)), EmptyString)))))))))))))))))); l_ix = IRune; l_segs = ((SLit
-    ((Npos (XI (XI (XI (XO (XI XH)))))) :: [])) :: ((SRaw (String ((Ascii
-    (false, false, true, false, true, false, true, false)), (String ((Ascii
-    (true, false, false, true, true, true, true, false)), (String ((Ascii
-    (false, false, false, false, true, true, true, false)), (String ((Ascii
-    (true, false, true, false, false, true, true, false)), (String ((Ascii
-    (true, true, false, false, false, false, true, false)), (String ((Ascii
-    (true, true, true, true, false, true, true, false)), (String ((Ascii
-    (false, false, true, false, false, true, true, false)), (String ((Ascii
-    (true, false, true, false, false, true, true, false)),
-    EmptyString))))))))))))))))) :: ((SAlpha ((String ((Ascii (false, true,
-    false, false, true, false, true, false)), (String ((Ascii (true, false,
-    true, false, false, true, true, false)), (String ((Ascii (false, true,
-    true, false, false, true, true, false)), (String ((Ascii (true, false,
-    true, false, false, true, true, false)), (String ((Ascii (false, true,
-    false, false, true, true, true, false)), (String ((Ascii (true, false,
-    true, false, false, true, true, false)), (String ((Ascii (false, true,
-    true, true, false, true, true, false)), (String ((Ascii (true, true,
-    false, false, false, true, true, false)), (String ((Ascii (true, false,
-    true, false, false, true, true, false)), (String ((Ascii (true, false,
-    false, true, false, false, true, false)), (String ((Ascii (false, true,
-    true, true, false, true, true, false)), (String ((Ascii (false, true,
-    true, false, false, true, true, false)), (String ((Ascii (true, true,
-    true, true, false, true, true, false)), (String ((Ascii (false, true,
-    false, false, true, true, true, false)), (String ((Ascii (true, false,
-    true, true, false, true, true, false)), (String ((Ascii (true, false,
-    false, false, false, true, true, false)), (String ((Ascii (false, false,
-    true, false, true, true, true, false)), (String ((Ascii (true, false,
-    false, true, false, true, true, false)), (String ((Ascii (true, true,
-    true, true, false, true, true, false)), (String ((Ascii (false, true,
-    true, true, false, true, true, false)), (String ((Ascii (true, true,
-    true, true, false, false, true, false)), (String ((Ascii (false, true,
-    true, true, false, true, true, false)), (String ((Ascii (true, false,
-    true, false, false, true, true, false)),
-    EmptyString)))))))))))))))))))))))))))))))))))))))))))))), (S (S (S (S (S
-    (S (S O))))))))) :: ((SAlpha ((String ((Ascii (false, true, false, false,
-    true, false, true, false)), (String ((Ascii (true, false, true, false,
-    false, true, true, false)), (String ((Ascii (false, true, true, false,
-    false, true, true, false)), (String ((Ascii (true, false, true, false,
-    false, true, true, false)), (String ((Ascii (false, true, false, false,
-    true, true, true, false)), (String ((Ascii (true, false, true, false,
-    false, true, true, false)), (String ((Ascii (false, true, true, true,
-    false, true, true, false)), (String ((Ascii (true, true, false, false,
-    false, true, true, false)), (String ((Ascii (true, false, true, false,
-    false, true, true, false)), (String ((Ascii (true, false, false, true,
-    false, false, true, false)), (String ((Ascii (false, true, true, true,
-    false, true, true, false)), (String ((Ascii (false, true, true, false,
-    false, true, true, false)), (String ((Ascii (true, true, true, true,
-    false, true, true, false)), (String ((Ascii (false, true, false, false,
-    true, true, true, false)), (String ((Ascii (true, false, true, true,
-    false, true, true, false)), (String ((Ascii (true, false, false, false,
-    false, true, true, false)), (String ((Ascii (false, false, true, false,
-    true, true, true, false)), (String ((Ascii (true, false, false, true,
-    false, true, true, false)), (String ((Ascii (true, true, true, true,
-    false, true, true, false)), (String ((Ascii (false, true, true, true,
-    false, true, true, false)), (String ((Ascii (false, false, true, false,
-    true, false, true, false)), (String ((Ascii (true, true, true, false,
-    true, true, true, false)), (String ((Ascii (true, true, true, true,
-    false, true, true, false)),
-    EmptyString)))))))))))))))))))))))))))))))))))))))))))))), (S (S (S
-    O))))) :: ((SAlpha ((String ((Ascii (false, false, true, false, true,
-    false, true, false)), (String ((Ascii (true, false, true, false, false,
-    true, true, false)), (String ((Ascii (false, true, false, false, true,
-    true, true, false)), (String ((Ascii (true, false, true, true, false,
-    true, true, false)), (String ((Ascii (true, false, false, true, false,
-    true, true, false)), (String ((Ascii (false, true, true, true, false,
-    true, true, false)), (String ((Ascii (true, false, false, false, false,
-    true, true, false)), (String ((Ascii (false, false, true, true, false,
-    true, true, false)), (String ((Ascii (true, false, false, true, false,
-    false, true, false)), (String ((Ascii (false, false, true, false, false,
-    true, true, false)), (String ((Ascii (true, false, true, false, false,
-    true, true, false)), (String ((Ascii (false, true, true, true, false,
-    true, true, false)), (String ((Ascii (false, false, true, false, true,
-    true, true, false)), (String ((Ascii (true, false, false, true, false,
-    true, true, false)), (String ((Ascii (false, true, true, false, false,
-    true, true, false)), (String ((Ascii (true, false, false, true, false,
-    true, true, false)), (String ((Ascii (true, true, false, false, false,
-    true, true, false)), (String ((Ascii (true, false, false, false, false,
-    true, true, false)), (String ((Ascii (false, false, true, false, true,
-    true, true, false)), (String ((Ascii (true, false, false, true, false,
-    true, true, false)), (String ((Ascii (true, true, true, true, false,
-    true, true, false)), (String ((Ascii (false, true, true, true, false,
-    true, true, false)), (String ((Ascii (true, true, false, false, false,
-    false, true, false)), (String ((Ascii (true, true, true, true, false,
-    true, true, false)), (String ((Ascii (false, false, true, false, false,
-    true, true, false)), (String ((Ascii (true, false, true, false, false,
-    true, true, false)),
-    EmptyString)))))))))))))))))))))))))))))))))))))))))))))))))))), (S (S (S
-    (S (S (S O)))))))) :: ((SAlpha ((String ((Ascii (false, false, true,
-    false, true, false, true, false)), (String ((Ascii (false, true, false,
-    false, true, true, true, false)), (String ((Ascii (true, false, false,
-    false, false, true, true, false)), (String ((Ascii (false, true, true,
-    true, false, true, true, false)), (String ((Ascii (true, true, false,
-    false, true, true, true, false)), (String ((Ascii (true, false, false,
-    false, false, true, true, false)), (String ((Ascii (true, true, false,
-    false, false, true, true, false)), (String ((Ascii (false, false, true,
-    false, true, true, true, false)), (String ((Ascii (true, false, false,
-    true, false, true, true, false)), (String ((Ascii (true, true, true,
-    true, false, true, true, false)), (String ((Ascii (false, true, true,
-    true, false, true, true, false)), (String ((Ascii (true, true, false,
-    false, true, false, true, false)), (String ((Ascii (true, false, true,
-    false, false, true, true, false)), (String ((Ascii (false, true, false,
-    false, true, true, true, false)), (String ((Ascii (true, false, false,
-    true, false, true, true, false)), (String ((Ascii (true, false, false,
-    false, false, true, true, false)), (String ((Ascii (false, false, true,
-    true, false, true, true, false)), (String ((Ascii (false, true, true,
-    true, false, false, true, false)), (String ((Ascii (true, false, true,
-    false, true, true, true, false)), (String ((Ascii (true, false, true,
-    true, false, true, true, false)), (String ((Ascii (false, true, false,
-    false, false, true, true, false)), (String ((Ascii (true, false, true,
-    false, false, true, true, false)), (String ((Ascii (false, true, false,
-    false, true, true, true, false)),
-    EmptyString)))))))))))))))))))))))))))))))))))))))))))))), (S (S (S (S (S
-    (S O)))))))) :: ((SAlpha ((String ((Ascii (false, false, true, false,
-    true, false, true, false)), (String ((Ascii (false, true, false, false,
-    true, true, true, false)), (String ((Ascii (true, false, false, false,
-    false, true, true, false)), (String ((Ascii (false, true, true, true,
-    false, true, true, false)), (String ((Ascii (true, true, false, false,
-    true, true, true, false)), (String ((Ascii (true, false, false, false,
-    false, true, true, false)), (String ((Ascii (true, true, false, false,
-    false, true, true, false)), (String ((Ascii (false, false, true, false,
-    true, true, true, false)), (String ((Ascii (true, false, false, true,
-    false, true, true, false)), (String ((Ascii (true, true, true, true,
-    false, true, true, false)), (String ((Ascii (false, true, true, true,
-    false, true, true, false)), (String ((Ascii (false, false, true, false,
-    false, false, true, false)), (String ((Ascii (true, false, false, false,
-    false, true, true, false)), (String ((Ascii (false, false, true, false,
-    true, true, true, false)), (String ((Ascii (true, false, true, false,
-    false, true, true, false)), EmptyString)))))))))))))))))))))))))))))), (S
-    (S (S (S O)))))) :: ((SAlpha ((String ((Ascii (true, false, false, false,
-    false, false, true, false)), (String ((Ascii (true, false, true, false,
-    true, true, true, false)), (String ((Ascii (false, false, true, false,
-    true, true, true, false)), (String ((Ascii (false, false, false, true,
-    false, true, true, false)), (String ((Ascii (true, true, true, true,
-    false, true, true, false)), (String ((Ascii (false, true, false, false,
-    true, true, true, false)), (String ((Ascii (true, false, false, true,
-    false, true, true, false)), (String ((Ascii (false, true, false, true,
-    true, true, true, false)), (String ((Ascii (true, false, false, false,
-    false, true, true, false)), (String ((Ascii (false, false, true, false,
-    true, true, true, false)), (String ((Ascii (true, false, false, true,
-    false, true, true, false)), (String ((Ascii (true, true, true, true,
-    false, true, true, false)), (String ((Ascii (false, true, true, true,
-    false, true, true, false)), (String ((Ascii (true, true, false, false,
-    false, false, true, false)), (String ((Ascii (true, true, true, true,
-    false, true, true, false)), (String ((Ascii (false, false, true, false,
-    false, true, true, false)), (String ((Ascii (true, false, true, false,
-    false, true, true, false)), (String ((Ascii (true, true, true, true,
-    false, false, true, false)), (String ((Ascii (false, true, false, false,
-    true, true, true, false)), (String ((Ascii (true, false, true, false,
-    false, false, true, false)), (String ((Ascii (false, false, false, true,
-    true, true, true, false)), (String ((Ascii (false, false, false, false,
-    true, true, true, false)), (String ((Ascii (true, false, false, true,
-    false, true, true, false)), (String ((Ascii (false, true, false, false,
-    true, true, true, false)), (String ((Ascii (true, false, true, false,
-    false, true, true, false)), (String ((Ascii (false, false, true, false,
-    false, false, true, false)), (String ((Ascii (true, false, false, false,
-    false, true, true, false)), (String ((Ascii (false, false, true, false,
-    true, true, true, false)), (String ((Ascii (true, false, true, false,
-    false, true, true, false)),
-    EmptyString)))))))))))))))))))))))))))))))))))))))))))))))))))))))))), (S
-    (S (S (S (S (S O)))))))) :: ((SAlpha ((String ((Ascii (false, false,
-    true, false, true, false, true, false)), (String ((Ascii (true, false,
-    true, false, false, true, true, false)), (String ((Ascii (false, true,
-    false, false, true, true, true, false)), (String ((Ascii (true, false,
-    true, true, false, true, true, false)), (String ((Ascii (true, false,
-    false, true, false, true, true, false)), (String ((Ascii (false, true,
-    true, true, false, true, true, false)), (String ((Ascii (true, false,
-    false, false, false, true, true, false)), (String ((Ascii (false, false,
-    true, true, false, true, true, false)), (String ((Ascii (false, false,
-    true, true, false, false, true, false)), (String ((Ascii (true, true,
-    true, true, false, true, true, false)), (String ((Ascii (true, true,
-    false, false, false, true, true, false)), (String ((Ascii (true, false,
-    false, false, false, true, true, false)), (String ((Ascii (false, false,
-    true, false, true, true, true, false)), (String ((Ascii (true, false,
-    false, true, false, true, true, false)), (String ((Ascii (true, true,
-    true, true, false, true, true, false)), (String ((Ascii (false, true,
-    true, true, false, true, true, false)),
-    EmptyString)))))))))))))))))))))))))))))))), (S (S (S (S (S (S (S (S (S
-    (S (S (S (S (S (S (S (S (S (S (S (S (S (S (S (S (S (S
-    O))))))))))))))))))))))))))))) :: ((SAlpha ((String ((Ascii (false,
-    false, true, false, true, false, true, false)), (String ((Ascii (true,
-    false, true, false, false, true, true, false)), (String ((Ascii (false,
-    true, false, false, true, true, true, false)), (String ((Ascii (true,
-    false, true, true, false, true, true, false)), (String ((Ascii (true,
-    false, false, true, false, true, true, false)), (String ((Ascii (false,
-    true, true, true, false, true, true, false)), (String ((Ascii (true,
-    false, false, false, false, true, true, false)), (String ((Ascii (false,
-    false, true, true, false, true, true, false)), (String ((Ascii (true,
-    true, false, false, false, false, true, false)), (String ((Ascii (true,
-    false, false, true, false, true, true, false)), (String ((Ascii (false,
-    false, true, false, true, true, true, false)), (String ((Ascii (true,
-    false, false, true, true, true, true, false)),
-    EmptyString)))))))))))))))))))))))), (S (S (S (S (S (S (S (S (S (S (S (S
-    (S (S (S O))))))))))))))))) :: ((SAlpha ((String ((Ascii (false, false,
-    true, false, true, false, true, false)), (String ((Ascii (true, false,
-    true, false, false, true, true, false)), (String ((Ascii (false, true,
-    false, false, true, true, true, false)), (String ((Ascii (true, false,
-    true, true, false, true, true, false)), (String ((Ascii (true, false,
-    false, true, false, true, true, false)), (String ((Ascii (false, true,
-    true, true, false, true, true, false)), (String ((Ascii (true, false,
-    false, false, false, true, true, false)), (String ((Ascii (false, false,
-    true, true, false, true, true, false)), (String ((Ascii (true, true,
-    false, false, true, false, true, false)), (String ((Ascii (false, false,
-    true, false, true, true, true, false)), (String ((Ascii (true, false,
-    false, false, false, true, true, false)), (String ((Ascii (false, false,
-    true, false, true, true, true, false)), (String ((Ascii (true, false,
-    true, false, false, true, true, false)),
-    EmptyString)))))))))))))))))))))))))), (S (S O)))) :: ((SStr ((String
-    ((Ascii (false, false, true, false, true, false, true, false)), (String
-    ((Ascii (false, true, false, false, true, true, true, false)), (String
-    ((Ascii (true, false, false, false, false, true, true, false)), (String
-    ((Ascii (true, true, false, false, false, true, true, false)), (String
-    ((Ascii (true, false, true, false, false, true, true, false)), (String
-    ((Ascii (false, true, true, true, false, false, true, false)), (String
-    ((Ascii (true, false, true, false, true, true, true, false)), (String
-    ((Ascii (true, false, true, true, false, true, true, false)), (String
-    ((Ascii (false, true, false, false, false, true, true, false)), (String
-    ((Ascii (true, false, true, false, false, true, true, false)), (String
-    ((Ascii (false, true, false, false, true, true, true, false)),
-    EmptyString)))))))))))))))))))))), (S (S (S (S (S (S (S (S (S (S (S (S (S
-    (S (S O))))))))))))))))) :: [])))))))))))); l_cuts =
-    ((mkcut O (S O) EmptyString []) :: ((mkcut (S O) (S (S (S O))) (String
-                                          ((Ascii (false, false, true, false,
-                                          true, false, true, false)), (String
-                                          ((Ascii (true, false, false, true,
-                                          true, true, true, false)), (String
-                                          ((Ascii (false, false, false,
-                                          false, true, true, true, false)),
-                                          (String ((Ascii (true, false, true,
-                                          false, false, true, true, false)),
-                                          (String ((Ascii (true, true, false,
-                                          false, false, false, true, false)),
-                                          (String ((Ascii (true, true, true,
-                                          true, false, true, true, false)),
-                                          (String ((Ascii (false, false,
-                                          true, false, false, true, true,
-                                          false)), (String ((Ascii (true,
-                                          false, true, false, false, true,
-                                          true, false)),
-                                          EmptyString)))))))))))))))) []) :: (
-    (mkcut (S (S (S O))) (S (S (S (S (S (S (S (S (S (S O)))))))))) (String
-      ((Ascii (false, true, false, false, true, false, true, false)), (String
-      ((Ascii (true, false, true, false, false, true, true, false)), (String
-      ((Ascii (false, true, true, false, false, true, true, false)), (String
-      ((Ascii (true, false, true, false, false, true, true, false)), (String
-      ((Ascii (false, true, false, false, true, true, true, false)), (String
-      ((Ascii (true, false, true, false, false, true, true, false)), (String
-      ((Ascii (false, true, true, true, false, true, true, false)), (String
-      ((Ascii (true, true, false, false, false, true, true, false)), (String
-      ((Ascii (true, false, true, false, false, true, true, false)), (String
-      ((Ascii (true, false, false, true, false, false, true, false)), (String
-      ((Ascii (false, true, true, true, false, true, true, false)), (String
-      ((Ascii (false, true, true, false, false, true, true, false)), (String
-      ((Ascii (true, true, true, true, false, true, true, false)), (String
-      ((Ascii (false, true, false, false, true, true, true, false)), (String
-      ((Ascii (true, false, true, true, false, true, true, false)), (String
-      ((Ascii (true, false, false, false, false, true, true, false)), (String
-      ((Ascii (false, false, true, false, true, true, true, false)), (String
-      ((Ascii (true, false, false, true, false, true, true, false)), (String
-      ((Ascii (true, true, true, true, false, true, true, false)), (String
-      ((Ascii (false, true, true, true, false, true, true, false)), (String
-      ((Ascii (true, true, true, true, false, false, true, false)), (String
-      ((Ascii (false, true, true, true, false, true, true, false)), (String
-      ((Ascii (true, false, true, false, false, true, true, false)),
-      EmptyString)))))))))))))))))))))))))))))))))))))))))))))) ((String
-      ((Ascii (true, true, false, false, true, true, true, false)), (String
-      ((Ascii (false, false, true, false, true, true, true, false)), (String
-      ((Ascii (false, true, false, false, true, true, true, false)), (String
-      ((Ascii (true, false, false, true, false, true, true, false)), (String
-      ((Ascii (false, true, true, true, false, true, true, false)), (String
-      ((Ascii (true, true, true, false, false, true, true, false)), (String
-      ((Ascii (true, true, false, false, true, true, true, false)), (String
-      ((Ascii (false, true, true, true, false, true, false, false)), (String
-      ((Ascii (false, false, true, false, true, false, true, false)), (String
-      ((Ascii (false, true, false, false, true, true, true, false)), (String
-      ((Ascii (true, false, false, true, false, true, true, false)), (String
-      ((Ascii (true, false, true, true, false, true, true, false)), (String
-      ((Ascii (true, true, false, false, true, false, true, false)), (String
-      ((Ascii (false, false, false, false, true, true, true, false)), (String
-      ((Ascii (true, false, false, false, false, true, true, false)), (String
-      ((Ascii (true, true, false, false, false, true, true, false)), (String
-      ((Ascii (true, false, true, false, false, true, true, false)),
-      EmptyString)))))))))))))))))))))))))))))))))) :: [])) :: ((mkcut (S (S
-                                                                  (S (S (S (S
-                                                                  (S (S (S (S
-                                                                  O))))))))))
-                                                                  (S (S (S (S
-                                                                  (S (S (S (S
-                                                                  (S (S (S (S
-                                                                  (S
-                                                                  O)))))))))))))
-                                                                  (String
-                                                                  ((Ascii
-                                                                  (false,
-                                                                  true,
-                                                                  false,
-                                                                  false,
-                                                                  true,
-                                                                  false,
-                                                                  true,
-                                                                  false)),
-                                                                  (String
-                                                                  ((Ascii
-                                                                  (true,
-                                                                  false,
-                                                                  true,
-                                                                  false,
-                                                                  false,
-                                                                  true, true,
-                                                                  false)),
-                                                                  (String
-                                                                  ((Ascii
-                                                                  (false,
-                                                                  true, true,
-                                                                  false,
-                                                                  false,
-                                                                  true, true,
-                                                                  false)),
-                                                                  (String
-                                                                  ((Ascii
-                                                                  (true,
-                                                                  false,
-                                                                  true,
-                                                                  false,
-                                                                  false,
-                                                                  true, true,
-                                                                  false)),
-                                                                  (String
-                                                                  ((Ascii
-                                                                  (false,
-                                                                  true,
-                                                                  false,
-                                                                  false,
-                                                                  true, true,
-                                                                  true,
-                                                                  false)),
-                                                                  (String
-                                                                  ((Ascii
-                                                                  (true,
-                                                                  false,
-                                                                  true,
-                                                                  false,
-                                                                  false,
-                                                                  true, true,
-                                                                  false)),
-                                                                  (String
-                                                                  ((Ascii
-                                                                  (false,
-                                                                  true, true,
-                                                                  true,
-                                                                  false,
-                                                                  true, true,
-                                                                  false)),
-                                                                  (String
-                                                                  ((Ascii
-                                                                  (true,
-                                                                  true,
-                                                                  false,
-                                                                  false,
-                                                                  false,
-                                                                  true, true,
-                                                                  false)),
-                                                                  (String
-                                                                  ((Ascii
-                                                                  (true,
-                                                                  false,
-                                                                  true,
-                                                                  false,
-                                                                  false,
-                                                                  true, true,
-                                                                  false)),
-                                                                  (String
-                                                                  ((Ascii
-                                                                  (true,
-                                                                  false,
-                                                                  false,
-                                                                  true,
-                                                                  false,
-                                                                  false,
-                                                                  true,
-                                                                  false)),
-                                                                  (String
-                                                                  ((Ascii
-                                                                  (false,
-                                                                  true, true,
-                                                                  true,
-                                                                  false,
-                                                                  true, true,
-                                                                  false)),
-                                                                  (String
-                                                                  ((Ascii
-                                                                  (false,
-                                                                  true, true,
-                                                                  false,
-                                                                  false,
-                                                                  true, true,
-                                                                  false)),
-                                                                  (String
-                                                                  ((Ascii
-                                                                  (true,
-                                                                  true, true,
-                                                                  true,
-                                                                  false,
-                                                                  true, true,
-                                                                  false)),
-                                                                  (String
-                                                                  ((Ascii
-                                                                  (false,
-                                                                  true,
-                                                                  false,
-                                                                  false,
-                                                                  true, true,
-                                                                  true,
-                                                                  false)),
-                                                                  (String
-                                                                  ((Ascii
-                                                                  (true,
-                                                                  false,
-                                                                  true, true,
-                                                                  false,
-                                                                  true, true,
-                                                                  false)),
-                                                                  (String
-                                                                  ((Ascii
-                                                                  (true,
-                                                                  false,
-                                                                  false,
-                                                                  false,
-                                                                  false,
-                                                                  true, true,
-                                                                  false)),
-                                                                  (String
-                                                                  ((Ascii
-                                                                  (false,
-                                                                  false,
-                                                                  true,
-                                                                  false,
-                                                                  true, true,
-                                                                  true,
-                                                                  false)),
-                                                                  (String
-                                                                  ((Ascii
-                                                                  (true,
-                                                                  false,
-                                                                  false,
-                                                                  true,
-                                                                  false,
-                                                                  true, true,
-                                                                  false)),
-                                                                  (String
-                                                                  ((Ascii
-                                                                  (true,
-                                                                  true, true,
-                                                                  true,
-                                                                  false,
-                                                                  true, true,
-                                                                  false)),
-                                                                  (String
-                                                                  ((Ascii
-                                                                  (false,
-                                                                  true, true,
-                                                                  true,
-                                                                  false,
-                                                                  true, true,
-                                                                  false)),
-                                                                  (String
-                                                                  ((Ascii
-                                                                  (false,
-                                                                  false,
-                                                                  true,
-                                                                  false,
-                                                                  true,
-                                                                  false,
-                                                                  true,
-                                                                  false)),
-                                                                  (String
-                                                                  ((Ascii
-                                                                  (true,
-                                                                  true, true,
-                                                                  false,
-                                                                  true, true,
-                                                                  true,
-                                                                  false)),
-                                                                  (String
-                                                                  ((Ascii
-                                                                  (true,
-                                                                  true, true,
-                                                                  true,
-                                                                  false,
-                                                                  true, true,
-                                                                  false)),
-                                                                  EmptyString))))))))))))))))))))))))))))))))))))))))))))))
-                                                                  ((String
-                                                                  ((Ascii
-                                                                  (true,
-                                                                  true,
-                                                                  false,
-                                                                  false,
-                                                                  true, true,
-                                                                  true,
-                                                                  false)),
-                                                                  (String
-                                                                  ((Ascii
-                                                                  (false,
-                                                                  false,
-                                                                  true,
-                                                                  false,
-                                                                  true, true,
-                                                                  true,
-                                                                  false)),
-                                                                  (String
-                                                                  ((Ascii
-                                                                  (false,
-                                                                  true,
-                                                                  false,
-                                                                  false,
-                                                                  true, true,
-                                                                  true,
-                                                                  false)),
-                                                                  (String
-                                                                  ((Ascii
-                                                                  (true,
-                                                                  false,
-                                                                  false,
-                                                                  true,
-                                                                  false,
-                                                                  true, true,
-                                                                  false)),
-                                                                  (String
-                                                                  ((Ascii
-                                                                  (false,
-                                                                  true, true,
-                                                                  true,
-                                                                  false,
-                                                                  true, true,
-                                                                  false)),
-                                                                  (String
-                                                                  ((Ascii
-                                                                  (true,
-                                                                  true, true,
-                                                                  false,
-                                                                  false,
-                                                                  true, true,
-                                                                  false)),
-                                                                  (String
-                                                                  ((Ascii
-                                                                  (true,
-                                                                  true,
-                                                                  false,
-                                                                  false,
-                                                                  true, true,
-                                                                  true,
-                                                                  false)),
-                                                                  (String
-                                                                  ((Ascii
-                                                                  (false,
-                                                                  true, true,
-                                                                  true,
-                                                                  false,
-                                                                  true,
-                                                                  false,
-                                                                  false)),
-                                                                  (String
-                                                                  ((Ascii
-                                                                  (false,
-                                                                  false,
-                                                                  true,
-                                                                  false,
-                                                                  true,
-                                                                  false,
-                                                                  true,
-                                                                  false)),
-                                                                  (String
-                                                                  ((Ascii
-                                                                  (false,
-                                                                  true,
-                                                                  false,
-                                                                  false,
-                                                                  true, true,
-                                                                  true,
-                                                                  false)),
-                                                                  (String
-                                                                  ((Ascii
-                                                                  (true,
-                                                                  false,
-                                                                  false,
-                                                                  true,
-                                                                  false,
-                                                                  true, true,
-                                                                  false)),
-                                                                  (String
-                                                                  ((Ascii
-                                                                  (true,
-                                                                  false,
-                                                                  true, true,
-                                                                  false,
-                                                                  true, true,
-                                                                  false)),
-                                                                  (String
-                                                                  ((Ascii
-                                                                  (true,
-                                                                  true,
-                                                                  false,
-                                                                  false,
-                                                                  true,
-                                                                  false,
-                                                                  true,
-                                                                  false)),
-                                                                  (String
-                                                                  ((Ascii
-                                                                  (false,
-                                                                  false,
-                                                                  false,
-                                                                  false,
-                                                                  true, true,
-                                                                  true,
-                                                                  false)),
-                                                                  (String
-                                                                  ((Ascii
-                                                                  (true,
-                                                                  false,
-                                                                  false,
-                                                                  false,
-                                                                  false,
-                                                                  true, true,
-                                                                  false)),
-                                                                  (String
-                                                                  ((Ascii
-                                                                  (true,
-                                                                  true,
-                                                                  false,
-                                                                  false,
-                                                                  false,
-                                                                  true, true,
-                                                                  false)),
-                                                                  (String
-                                                                  ((Ascii
-                                                                  (true,
-                                                                  false,
-                                                                  true,
-                                                                  false,
-                                                                  false,
-                                                                  true, true,
-                                                                  false)),
-                                                                  EmptyString)))))))))))))))))))))))))))))))))) :: [])) :: (
-    (mkcut (S (S (S (S (S (S (S (S (S (S (S (S (S O))))))))))))) (S (S (S (S
-      (S (S (S (S (S (S (S (S (S (S (S (S (S (S (S O)))))))))))))))))))
-      (String ((Ascii (false, false, true, false, true, false, true, false)),
-      (String ((Ascii (true, false, true, false, false, true, true, false)),
-      (String ((Ascii (false, true, false, false, true, true, true, false)),
-      (String ((Ascii (true, false, true, true, false, true, true, false)),
-      (String ((Ascii (true, false, false, true, false, true, true, false)),
-      (String ((Ascii (false, true, true, true, false, true, true, false)),
-      (String ((Ascii (true, false, false, false, false, true, true, false)),
-      (String ((Ascii (false, false, true, true, false, true, true, false)),
-      (String ((Ascii (true, false, false, true, false, false, true, false)),
-      (String ((Ascii (false, false, true, false, false, true, true, false)),
-      (String ((Ascii (true, false, true, false, false, true, true, false)),
-      (String ((Ascii (false, true, true, true, false, true, true, false)),
-      (String ((Ascii (false, false, true, false, true, true, true, false)),
-      (String ((Ascii (true, false, false, true, false, true, true, false)),
-      (String ((Ascii (false, true, true, false, false, true, true, false)),
-      (String ((Ascii (true, false, false, true, false, true, true, false)),
-      (String ((Ascii (true, true, false, false, false, true, true, false)),
-      (String ((Ascii (true, false, false, false, false, true, true, false)),
-      (String ((Ascii (false, false, true, false, true, true, true, false)),
-      (String ((Ascii (true, false, false, true, false, true, true, false)),
-      (String ((Ascii (true, true, true, true, false, true, true, false)),
-      (String ((Ascii (false, true, true, true, false, true, true, false)),
-      (String ((Ascii (true, true, false, false, false, false, true, false)),
-      (String ((Ascii (true, true, true, true, false, true, true, false)),
-      (String ((Ascii (false, false, true, false, false, true, true, false)),
-      (String ((Ascii (true, false, true, false, false, true, true, false)),
-      EmptyString))))))))))))))))))))))))))))))))))))))))))))))))))))
-      ((String ((Ascii (true, true, false, false, true, true, true, false)),
-      (String ((Ascii (false, false, true, false, true, true, true, false)),
-      (String ((Ascii (false, true, false, false, true, true, true, false)),
-      (String ((Ascii (true, false, false, true, false, true, true, false)),
-      (String ((Ascii (false, true, true, true, false, true, true, false)),
-      (String ((Ascii (true, true, true, false, false, true, true, false)),
-      (String ((Ascii (true, true, false, false, true, true, true, false)),
-      (String ((Ascii (false, true, true, true, false, true, false, false)),
-      (String ((Ascii (false, false, true, false, true, false, true, false)),
-      (String ((Ascii (false, true, false, false, true, true, true, false)),
-      (String ((Ascii (true, false, false, true, false, true, true, false)),
-      (String ((Ascii (true, false, true, true, false, true, true, false)),
-      (String ((Ascii (true, true, false, false, true, false, true, false)),
-      (String ((Ascii (false, false, false, false, true, true, true, false)),
-      (String ((Ascii (true, false, false, false, false, true, true, false)),
-      (String ((Ascii (true, true, false, false, false, true, true, false)),
-      (String ((Ascii (true, false, true, false, false, true, true, false)),
-      EmptyString)))))))))))))))))))))))))))))))))) :: [])) :: ((mkcut (S (S
-                                                                  (S (S (S (S
-                                                                  (S (S (S (S
-                                                                  (S (S (S (S
-                                                                  (S (S (S (S
-                                                                  (S
-                                                                  O)))))))))))))))))))
-                                                                  (S (S (S (S
-                                                                  (S (S (S (S
-                                                                  (S (S (S (S
-                                                                  (S (S (S (S
-                                                                  (S (S (S (S
-                                                                  (S (S (S (S
-                                                                  (S
-                                                                  O)))))))))))))))))))))))))
-                                                                  (String
-                                                                  ((Ascii
-                                                                  (false,
-                                                                  false,
-                                                                  true,
-                                                                  false,
-                                                                  true,
-                                                                  false,
-                                                                  true,
-                                                                  false)),
-                                                                  (String
-                                                                  ((Ascii
-                                                                  (false,
-                                                                  true,
-                                                                  false,
-                                                                  false,
-                                                                  true, true,
-                                                                  true,
-                                                                  false)),
-                                                                  (String
-                                                                  ((Ascii
-                                                                  (true,
-                                                                  false,
-                                                                  false,
-                                                                  false,
-                                                                  false,
-                                                                  true, true,
-                                                                  false)),
-                                                                  (String
-                                                                  ((Ascii
-                                                                  (false,
-                                                                  true, true,
-                                                                  true,
-                                                                  false,
-                                                                  true, true,
-                                                                  false)),
-                                                                  (String
-                                                                  ((Ascii
-                                                                  (true,
-                                                                  true,
-                                                                  false,
-                                                                  false,
-                                                                  true, true,
-                                                                  true,
-                                                                  false)),
-                                                                  (String
-                                                                  ((Ascii
-                                                                  (true,
-                                                                  false,
-                                                                  false,
-                                                                  false,
-                                                                  false,
-                                                                  true, true,
-                                                                  false)),
-                                                                  (String
-                                                                  ((Ascii
-                                                                  (true,
-                                                                  true,
-                                                                  false,
-                                                                  false,
-                                                                  false,
-                                                                  true, true,
-                                                                  false)),
-                                                                  (String
-                                                                  ((Ascii
-                                                                  (false,
-                                                                  false,
-                                                                  true,
-                                                                  false,
-                                                                  true, true,
-                                                                  true,
-                                                                  false)),
-                                                                  (String
-                                                                  ((Ascii
-                                                                  (true,
-                                                                  false,
-                                                                  false,
-                                                                  true,
-                                                                  false,
-                                                                  true, true,
-                                                                  false)),
-                                                                  (String
-                                                                  ((Ascii
-                                                                  (true,
-                                                                  true, true,
-                                                                  true,
-                                                                  false,
-                                                                  true, true,
-                                                                  false)),
-                                                                  (String
-                                                                  ((Ascii
-                                                                  (false,
-                                                                  true, true,
-                                                                  true,
-                                                                  false,
-                                                                  true, true,
-                                                                  false)),
-                                                                  (String
-                                                                  ((Ascii
-                                                                  (true,
-                                                                  true,
-                                                                  false,
-                                                                  false,
-                                                                  true,
-                                                                  false,
-                                                                  true,
-                                                                  false)),
-                                                                  (String
-                                                                  ((Ascii
-                                                                  (true,
-                                                                  false,
-                                                                  true,
-                                                                  false,
-                                                                  false,
-                                                                  true, true,
-                                                                  false)),
-                                                                  (String
-                                                                  ((Ascii
-                                                                  (false,
-                                                                  true,
-                                                                  false,
-                                                                  false,
-                                                                  true, true,
-                                                                  true,
-                                                                  false)),
-                                                                  (String
-                                                                  ((Ascii
-                                                                  (true,
-                                                                  false,
-                                                                  false,
-                                                                  true,
-                                                                  false,
-                                                                  true, true,
-                                                                  false)),
-                                                                  (String
-                                                                  ((Ascii
-                                                                  (true,
-                                                                  false,
-                                                                  false,
-                                                                  false,
-                                                                  false,
-                                                                  true, true,
-                                                                  false)),
-                                                                  (String
-                                                                  ((Ascii
-                                                                  (false,
-                                                                  false,
-                                                                  true, true,
-                                                                  false,
-                                                                  true, true,
-                                                                  false)),
-                                                                  (String
-                                                                  ((Ascii
-                                                                  (false,
-                                                                  true, true,
-                                                                  true,
-                                                                  false,
-                                                                  false,
-                                                                  true,
-                                                                  false)),
-                                                                  (String
-                                                                  ((Ascii
-                                                                  (true,
-                                                                  false,
-                                                                  true,
-                                                                  false,
-                                                                  true, true,
-                                                                  true,
-                                                                  false)),
-                                                                  (String
-                                                                  ((Ascii
-                                                                  (true,
-                                                                  false,
-                                                                  true, true,
-                                                                  false,
-                                                                  true, true,
-                                                                  false)),
-                                                                  (String
-                                                                  ((Ascii
-                                                                  (false,
-                                                                  true,
-                                                                  false,
-                                                                  false,
-                                                                  false,
-                                                                  true, true,
-                                                                  false)),
-                                                                  (String
-                                                                  ((Ascii
-                                                                  (true,
-                                                                  false,
-                                                                  true,
-                                                                  false,
-                                                                  false,
-                                                                  true, true,
-                                                                  false)),
-                                                                  (String
-                                                                  ((Ascii
-                                                                  (false,
-                                                                  true,
-                                                                  false,
-                                                                  false,
-                                                                  true, true,
-                                                                  true,
-                                                                  false)),
-                                                                  EmptyString))))))))))))))))))))))))))))))))))))))))))))))
-                                                                  ((String
-                                                                  ((Ascii
-                                                                  (true,
-                                                                  true,
-                                                                  false,
-                                                                  false,
-                                                                  true, true,
-                                                                  true,
-                                                                  false)),
-                                                                  (String
-                                                                  ((Ascii
-                                                                  (false,
-                                                                  false,
-                                                                  true,
-                                                                  false,
-                                                                  true, true,
-                                                                  true,
-                                                                  false)),
-                                                                  (String
-                                                                  ((Ascii
-                                                                  (false,
-                                                                  true,
-                                                                  false,
-                                                                  false,
-                                                                  true, true,
-                                                                  true,
-                                                                  false)),
-                                                                  (String
-                                                                  ((Ascii
-                                                                  (true,
-                                                                  false,
-                                                                  false,
-                                                                  true,
-                                                                  false,
-                                                                  true, true,
-                                                                  false)),
-                                                                  (String
-                                                                  ((Ascii
-                                                                  (false,
-                                                                  true, true,
-                                                                  true,
-                                                                  false,
-                                                                  true, true,
-                                                                  false)),
-                                                                  (String
-                                                                  ((Ascii
-                                                                  (true,
-                                                                  true, true,
-                                                                  false,
-                                                                  false,
-                                                                  true, true,
-                                                                  false)),
-                                                                  (String
-                                                                  ((Ascii
-                                                                  (true,
-                                                                  true,
-                                                                  false,
-                                                                  false,
-                                                                  true, true,
-                                                                  true,
-                                                                  false)),
-                                                                  (String
-                                                                  ((Ascii
-                                                                  (false,
-                                                                  true, true,
-                                                                  true,
-                                                                  false,
-                                                                  true,
-                                                                  false,
-                                                                  false)),
-                                                                  (String
-                                                                  ((Ascii
-                                                                  (false,
-                                                                  false,
-                                                                  true,
-                                                                  false,
-                                                                  true,
-                                                                  false,
-                                                                  true,
-                                                                  false)),
-                                                                  (String
-                                                                  ((Ascii
-                                                                  (false,
-                                                                  true,
-                                                                  false,
-                                                                  false,
-                                                                  true, true,
-                                                                  true,
-                                                                  false)),
-                                                                  (String
-                                                                  ((Ascii
-                                                                  (true,
-                                                                  false,
-                                                                  false,
-                                                                  true,
-                                                                  false,
-                                                                  true, true,
-                                                                  false)),
-                                                                  (String
-                                                                  ((Ascii
-                                                                  (true,
-                                                                  false,
-                                                                  true, true,
-                                                                  false,
-                                                                  true, true,
-                                                                  false)),
-                                                                  (String
-                                                                  ((Ascii
-                                                                  (true,
-                                                                  true,
-                                                                  false,
-                                                                  false,
-                                                                  true,
-                                                                  false,
-                                                                  true,
-                                                                  false)),
-                                                                  (String
-                                                                  ((Ascii
-                                                                  (false,
-                                                                  false,
-                                                                  false,
-                                                                  false,
-                                                                  true, true,
-                                                                  true,
-                                                                  false)),
-                                                                  (String
-                                                                  ((Ascii
-                                                                  (true,
-                                                                  false,
-                                                                  false,
-                                                                  false,
-                                                                  false,
-                                                                  true, true,
-                                                                  false)),
-                                                                  (String
-                                                                  ((Ascii
-                                                                  (true,
-                                                                  true,
-                                                                  false,
-                                                                  false,
-                                                                  false,
-                                                                  true, true,
-                                                                  false)),
-                                                                  (String
-                                                                  ((Ascii
-                                                                  (true,
-                                                                  false,
-                                                                  true,
-                                                                  false,
-                                                                  false,
-                                                                  true, true,
-                                                                  false)),
-                                                                  EmptyString)))))))))))))))))))))))))))))))))) :: [])) :: (
-    (mkcut (S (S (S (S (S (S (S (S (S (S (S (S (S (S (S (S (S (S (S (S (S (S
-      (S (S (S O))))))))))))))))))))))))) (S (S (S (S (S (S (S (S (S (S (S (S
-      (S (S (S (S (S (S (S (S (S (S (S (S (S (S (S (S (S
-      O))))))))))))))))))))))))))))) (String ((Ascii (false, false, true,
-      false, true, false, true, false)), (String ((Ascii (false, true, false,
-      false, true, true, true, false)), (String ((Ascii (true, false, false,
-      false, false, true, true, false)), (String ((Ascii (false, true, true,
-      true, false, true, true, false)), (String ((Ascii (true, true, false,
-      false, true, true, true, false)), (String ((Ascii (true, false, false,
-      false, false, true, true, false)), (String ((Ascii (true, true, false,
-      false, false, true, true, false)), (String ((Ascii (false, false, true,
-      false, true, true, true, false)), (String ((Ascii (true, false, false,
-      true, false, true, true, false)), (String ((Ascii (true, true, true,
-      true, false, true, true, false)), (String ((Ascii (false, true, true,
-      true, false, true, true, false)), (String ((Ascii (false, false, true,
-      false, false, false, true, false)), (String ((Ascii (true, false,
-      false, false, false, true, true, false)), (String ((Ascii (false,
-      false, true, false, true, true, true, false)), (String ((Ascii (true,
-      false, true, false, false, true, true, false)),
-      EmptyString)))))))))))))))))))))))))))))) ((String ((Ascii (true, true,
-      false, false, true, true, true, false)), (String ((Ascii (false, false,
-      true, false, true, true, true, false)), (String ((Ascii (false, true,
-      false, false, true, true, true, false)), (String ((Ascii (true, false,
-      false, true, false, true, true, false)), (String ((Ascii (false, true,
-      true, true, false, true, true, false)), (String ((Ascii (true, true,
-      true, false, false, true, true, false)), (String ((Ascii (true, true,
-      false, false, true, true, true, false)), (String ((Ascii (false, true,
-      true, true, false, true, false, false)), (String ((Ascii (false, false,
-      true, false, true, false, true, false)), (String ((Ascii (false, true,
-      false, false, true, true, true, false)), (String ((Ascii (true, false,
-      false, true, false, true, true, false)), (String ((Ascii (true, false,
-      true, true, false, true, true, false)), (String ((Ascii (true, true,
-      false, false, true, false, true, false)), (String ((Ascii (false,
-      false, false, false, true, true, true, false)), (String ((Ascii (true,
-      false, false, false, false, true, true, false)), (String ((Ascii (true,
-      true, false, false, false, true, true, false)), (String ((Ascii (true,
-      false, true, false, false, true, true, false)),
-      EmptyString)))))))))))))))))))))))))))))))))) :: [])) :: ((mkcut (S (S
-                                                                  (S (S (S (S
-                                                                  (S (S (S (S
-                                                                  (S (S (S (S
-                                                                  (S (S (S (S
-                                                                  (S (S (S (S
-                                                                  (S (S (S (S
-                                                                  (S (S (S
-                                                                  O)))))))))))))))))))))))))))))
-                                                                  (S (S (S (S
-                                                                  (S (S (S (S
-                                                                  (S (S (S (S
-                                                                  (S (S (S (S
-                                                                  (S (S (S (S
-                                                                  (S (S (S (S
-                                                                  (S (S (S (S
-                                                                  (S (S (S (S
-                                                                  (S (S (S
-                                                                  O)))))))))))))))))))))))))))))))))))
-                                                                  (String
-                                                                  ((Ascii
-                                                                  (true,
-                                                                  false,
-                                                                  false,
-                                                                  false,
-                                                                  false,
-                                                                  false,
-                                                                  true,
-                                                                  false)),
-                                                                  (String
-                                                                  ((Ascii
-                                                                  (true,
-                                                                  false,
-                                                                  true,
-                                                                  false,
-                                                                  true, true,
-                                                                  true,
-                                                                  false)),
-                                                                  (String
-                                                                  ((Ascii
-                                                                  (false,
-                                                                  false,
-                                                                  true,
-                                                                  false,
-                                                                  true, true,
-                                                                  true,
-                                                                  false)),
-                                                                  (String
-                                                                  ((Ascii
-                                                                  (false,
-                                                                  false,
-                                                                  false,
-                                                                  true,
-                                                                  false,
-                                                                  true, true,
-                                                                  false)),
-                                                                  (String
-                                                                  ((Ascii
-                                                                  (true,
-                                                                  true, true,
-                                                                  true,
-                                                                  false,
-                                                                  true, true,
-                                                                  false)),
-                                                                  (String
-                                                                  ((Ascii
-                                                                  (false,
-                                                                  true,
-                                                                  false,
-                                                                  false,
-                                                                  true, true,
-                                                                  true,
-                                                                  false)),
-                                                                  (String
-                                                                  ((Ascii
-                                                                  (true,
-                                                                  false,
-                                                                  false,
-                                                                  true,
-                                                                  false,
-                                                                  true, true,
-                                                                  false)),
-                                                                  (String
-                                                                  ((Ascii
-                                                                  (false,
-                                                                  true,
-                                                                  false,
-                                                                  true, true,
-                                                                  true, true,
-                                                                  false)),
-                                                                  (String
-                                                                  ((Ascii
-                                                                  (true,
-                                                                  false,
-                                                                  false,
-                                                                  false,
-                                                                  false,
-                                                                  true, true,
-                                                                  false)),
-                                                                  (String
-                                                                  ((Ascii
-                                                                  (false,
-                                                                  false,
-                                                                  true,
-                                                                  false,
-                                                                  true, true,
-                                                                  true,
-                                                                  false)),
-                                                                  (String
-                                                                  ((Ascii
-                                                                  (true,
-                                                                  false,
-                                                                  false,
-                                                                  true,
-                                                                  false,
-                                                                  true, true,
-                                                                  false)),
-                                                                  (String
-                                                                  ((Ascii
-                                                                  (true,
-                                                                  true, true,
-                                                                  true,
-                                                                  false,
-                                                                  true, true,
-                                                                  false)),
-                                                                  (String
-                                                                  ((Ascii
-                                                                  (false,
-                                                                  true, true,
-                                                                  true,
-                                                                  false,
-                                                                  true, true,
-                                                                  false)),
-                                                                  (String
-                                                                  ((Ascii
-                                                                  (true,
-                                                                  true,
-                                                                  false,
-                                                                  false,
-                                                                  false,
-                                                                  false,
-                                                                  true,
-                                                                  false)),
-                                                                  (String
-                                                                  ((Ascii
-                                                                  (true,
-                                                                  true, true,
-                                                                  true,
-                                                                  false,
-                                                                  true, true,
-                                                                  false)),
-                                                                  (String
-                                                                  ((Ascii
-                                                                  (false,
-                                                                  false,
-                                                                  true,
-                                                                  false,
-                                                                  false,
-                                                                  true, true,
-                                                                  false)),
-                                                                  (String
-                                                                  ((Ascii
-                                                                  (true,
-                                                                  false,
-                                                                  true,
-                                                                  false,
-                                                                  false,
-                                                                  true, true,
-                                                                  false)),
-                                                                  (String
-                                                                  ((Ascii
-                                                                  (true,
-                                                                  true, true,
-                                                                  true,
-                                                                  false,
-                                                                  false,
-                                                                  true,
-                                                                  false)),
-                                                                  (String
-                                                                  ((Ascii
-                                                                  (false,
-                                                                  true,
-                                                                  false,
-                                                                  false,
-                                                                  true, true,
-                                                                  true,
-                                                                  false)),
-                                                                  (String
-                                                                  ((Ascii
-                                                                  (true,
-                                                                  false,
-                                                                  true,
-                                                                  false,
-                                                                  false,
-                                                                  false,
-                                                                  true,
-                                                                  false)),
-                                                                  (String
-                                                                  ((Ascii
-                                                                  (false,
-                                                                  false,
-                                                                  false,
-                                                                  true, true,
-                                                                  true, true,
-                                                                  false)),
-                                                                  (String
-                                                                  ((Ascii
-                                                                  (false,
-                                                                  false,
-                                                                  false,
-                                                                  false,
-                                                                  true, true,
-                                                                  true,
-                                                                  false)),
-                                                                  (String
-                                                                  ((Ascii
-                                                                  (true,
-                                                                  false,
-                                                                  false,
-                                                                  true,
-                                                                  false,
-                                                                  true, true,
-                                                                  false)),
-                                                                  (String
-                                                                  ((Ascii
-                                                                  (false,
-                                                                  true,
-                                                                  false,
-                                                                  false,
-                                                                  true, true,
-                                                                  true,
-                                                                  false)),
-                                                                  (String
-                                                                  ((Ascii
-                                                                  (true,
-                                                                  false,
-                                                                  true,
-                                                                  false,
-                                                                  false,
-                                                                  true, true,
-                                                                  false)),
-                                                                  (String
-                                                                  ((Ascii
-                                                                  (false,
-                                                                  false,
-                                                                  true,
-                                                                  false,
-                                                                  false,
-                                                                  false,
-                                                                  true,
-                                                                  false)),
-                                                                  (String
-                                                                  ((Ascii
-                                                                  (true,
-                                                                  false,
-                                                                  false,
-                                                                  false,
-                                                                  false,
-                                                                  true, true,
-                                                                  false)),
-                                                                  (String
-                                                                  ((Ascii
-                                                                  (false,
-                                                                  false,
-                                                                  true,
-                                                                  false,
-                                                                  true, true,
-                                                                  true,
-                                                                  false)),
-                                                                  (String
-                                                                  ((Ascii
-                                                                  (true,
-                                                                  false,
-                                                                  true,
-                                                                  false,
-                                                                  false,
-                                                                  true, true,
-                                                                  false)),
-                                                                  EmptyString))))))))))))))))))))))))))))))))))))))))))))))))))))))))))
-                                                                  ((String
-                                                                  ((Ascii
-                                                                  (true,
-                                                                  true,
-                                                                  false,
-                                                                  false,
-                                                                  true, true,
-                                                                  true,
-                                                                  false)),
-                                                                  (String
-                                                                  ((Ascii
-                                                                  (false,
-                                                                  false,
-                                                                  true,
-                                                                  false,
-                                                                  true, true,
-                                                                  true,
-                                                                  false)),
-                                                                  (String
-                                                                  ((Ascii
-                                                                  (false,
-                                                                  true,
-                                                                  false,
-                                                                  false,
-                                                                  true, true,
-                                                                  true,
-                                                                  false)),
-                                                                  (String
-                                                                  ((Ascii
-                                                                  (true,
-                                                                  false,
-                                                                  false,
-                                                                  true,
-                                                                  false,
-                                                                  true, true,
-                                                                  false)),
-                                                                  (String
-                                                                  ((Ascii
-                                                                  (false,
-                                                                  true, true,
-                                                                  true,
-                                                                  false,
-                                                                  true, true,
-                                                                  false)),
-                                                                  (String
-                                                                  ((Ascii
-                                                                  (true,
-                                                                  true, true,
-                                                                  false,
-                                                                  false,
-                                                                  true, true,
-                                                                  false)),
-                                                                  (String
-                                                                  ((Ascii
-                                                                  (true,
-                                                                  true,
-                                                                  false,
-                                                                  false,
-                                                                  true, true,
-                                                                  true,
-                                                                  false)),
-                                                                  (String
-                                                                  ((Ascii
-                                                                  (false,
-                                                                  true, true,
-                                                                  true,
-                                                                  false,
-                                                                  true,
-                                                                  false,
-                                                                  false)),
-                                                                  (String
-                                                                  ((Ascii
-                                                                  (false,
-                                                                  false,
-                                                                  true,
-                                                                  false,
-                                                                  true,
-                                                                  false,
-                                                                  true,
-                                                                  false)),
-                                                                  (String
-                                                                  ((Ascii
-                                                                  (false,
-                                                                  true,
-                                                                  false,
-                                                                  false,
-                                                                  true, true,
-                                                                  true,
-                                                                  false)),
-                                                                  (String
-                                                                  ((Ascii
-                                                                  (true,
-                                                                  false,
-                                                                  false,
-                                                                  true,
-                                                                  false,
-                                                                  true, true,
-                                                                  false)),
-                                                                  (String
-                                                                  ((Ascii
-                                                                  (true,
-                                                                  false,
-                                                                  true, true,
-                                                                  false,
-                                                                  true, true,
-                                                                  false)),
-                                                                  (String
-                                                                  ((Ascii
-                                                                  (true,
-                                                                  true,
-                                                                  false,
-                                                                  false,
-                                                                  true,
-                                                                  false,
-                                                                  true,
-                                                                  false)),
-                                                                  (String
-                                                                  ((Ascii
-                                                                  (false,
-                                                                  false,
-                                                                  false,
-                                                                  false,
-                                                                  true, true,
-                                                                  true,
-                                                                  false)),
-                                                                  (String
-                                                                  ((Ascii
-                                                                  (true,
-                                                                  false,
-                                                                  false,
-                                                                  false,
-                                                                  false,
-                                                                  true, true,
-                                                                  false)),
-                                                                  (String
-                                                                  ((Ascii
-                                                                  (true,
-                                                                  true,
-                                                                  false,
-                                                                  false,
-                                                                  false,
-                                                                  true, true,
-                                                                  false)),
-                                                                  (String
-                                                                  ((Ascii
-                                                                  (true,
-                                                                  false,
-                                                                  true,
-                                                                  false,
-                                                                  false,
-                                                                  true, true,
-                                                                  false)),
-                                                                  EmptyString)))))))))))))))))))))))))))))))))) :: [])) :: (
-    (mkcut (S (S (S (S (S (S (S (S (S (S (S (S (S (S (S (S (S (S (S (S (S (S
-      (S (S (S (S (S (S (S (S (S (S (S (S (S
-      O))))))))))))))))))))))))))))))))))) (S (S (S (S (S (S (S (S (S (S (S
-      (S (S (S (S (S (S (S (S (S (S (S (S (S (S (S (S (S (S (S (S (S (S (S (S
-      (S (S (S (S (S (S (S (S (S (S (S (S (S (S (S (S (S (S (S (S (S (S (S (S
-      (S (S (S
-      O)))))))))))))))))))))))))))))))))))))))))))))))))))))))))))))) (String
-      ((Ascii (false, false, true, false, true, false, true, false)), (String
-      ((Ascii (true, false, true, false, false, true, true, false)), (String
-      ((Ascii (false, true, false, false, true, true, true, false)), (String
-      ((Ascii (true, false, true, true, false, true, true, false)), (String
-      ((Ascii (true, false, false, true, false, true, true, false)), (String
-      ((Ascii (false, true, true, true, false, true, true, false)), (String
-      ((Ascii (true, false, false, false, false, true, true, false)), (String
-      ((Ascii (false, false, true, true, false, true, true, false)), (String
-      ((Ascii (false, false, true, true, false, false, true, false)), (String
-      ((Ascii (true, true, true, true, false, true, true, false)), (String
-      ((Ascii (true, true, false, false, false, true, true, false)), (String
-      ((Ascii (true, false, false, false, false, true, true, false)), (String
-      ((Ascii (false, false, true, false, true, true, true, false)), (String
-      ((Ascii (true, false, false, true, false, true, true, false)), (String
-      ((Ascii (true, true, true, true, false, true, true, false)), (String
-      ((Ascii (false, true, true, true, false, true, true, false)),
-      EmptyString)))))))))))))))))))))))))))))))) ((String ((Ascii (true,
-      true, false, false, true, true, true, false)), (String ((Ascii (false,
-      false, true, false, true, true, true, false)), (String ((Ascii (false,
-      true, false, false, true, true, true, false)), (String ((Ascii (true,
-      false, false, true, false, true, true, false)), (String ((Ascii (false,
-      true, true, true, false, true, true, false)), (String ((Ascii (true,
-      true, true, false, false, true, true, false)), (String ((Ascii (true,
-      true, false, false, true, true, true, false)), (String ((Ascii (false,
-      true, true, true, false, true, false, false)), (String ((Ascii (false,
-      false, true, false, true, false, true, false)), (String ((Ascii (false,
-      true, false, false, true, true, true, false)), (String ((Ascii (true,
-      false, false, true, false, true, true, false)), (String ((Ascii (true,
-      false, true, true, false, true, true, false)), (String ((Ascii (true,
-      true, false, false, true, false, true, false)), (String ((Ascii (false,
-      false, false, false, true, true, true, false)), (String ((Ascii (true,
-      false, false, false, false, true, true, false)), (String ((Ascii (true,
-      true, false, false, false, true, true, false)), (String ((Ascii (true,
-      false, true, false, false, true, true, false)),
-      EmptyString)))))))))))))))))))))))))))))))))) :: [])) :: ((mkcut (S (S
-                                                                  (S (S (S (S
-                                                                  (S (S (S (S
-                                                                  (S (S (S (S
-                                                                  (S (S (S (S
-                                                                  (S (S (S (S
-                                                                  (S (S (S (S
-                                                                  (S (S (S (S
-                                                                  (S (S (S (S
-                                                                  (S (S (S (S
-                                                                  (S (S (S (S
-                                                                  (S (S (S (S
-                                                                  (S (S (S (S
-                                                                  (S (S (S (S
-                                                                  (S (S (S (S
-                                                                  (S (S (S (S
-                                                                  O))))))))))))))))))))))))))))))))))))))))))))))))))))))))))))))
-                                                                  (S (S (S (S
-                                                                  (S (S (S (S
-                                                                  (S (S (S (S
-                                                                  (S (S (S (S
-                                                                  (S (S (S (S
-                                                                  (S (S (S (S
-                                                                  (S (S (S (S
-                                                                  (S (S (S (S
-                                                                  (S (S (S (S
-                                                                  (S (S (S (S
-                                                                  (S (S (S (S
-                                                                  (S (S (S (S
-                                                                  (S (S (S (S
-                                                                  (S (S (S (S
-                                                                  (S (S (S (S
-                                                                  (S (S (S (S
-                                                                  (S (S (S (S
-                                                                  (S (S (S (S
-                                                                  (S (S (S (S
-                                                                  (S
-                                                                  O)))))))))))))))))))))))))))))))))))))))))))))))))))))))))))))))))))))))))))))
-                                                                  (String
-                                                                  ((Ascii
-                                                                  (false,
-                                                                  false,
-                                                                  true,
-                                                                  false,
-                                                                  true,
-                                                                  false,
-                                                                  true,
-                                                                  false)),
-                                                                  (String
-                                                                  ((Ascii
-                                                                  (true,
-                                                                  false,
-                                                                  true,
-                                                                  false,
-                                                                  false,
-                                                                  true, true,
-                                                                  false)),
-                                                                  (String
-                                                                  ((Ascii
-                                                                  (false,
-                                                                  true,
-                                                                  false,
-                                                                  false,
-                                                                  true, true,
-                                                                  true,
-                                                                  false)),
-                                                                  (String
-                                                                  ((Ascii
-                                                                  (true,
-                                                                  false,
-                                                                  true, true,
-                                                                  false,
-                                                                  true, true,
-                                                                  false)),
-                                                                  (String
-                                                                  ((Ascii
-                                                                  (true,
-                                                                  false,
-                                                                  false,
-                                                                  true,
-                                                                  false,
-                                                                  true, true,
-                                                                  false)),
-                                                                  (String
-                                                                  ((Ascii
-                                                                  (false,
-                                                                  true, true,
-                                                                  true,
-                                                                  false,
-                                                                  true, true,
-                                                                  false)),
-                                                                  (String
-                                                                  ((Ascii
-                                                                  (true,
-                                                                  false,
-                                                                  false,
-                                                                  false,
-                                                                  false,
-                                                                  true, true,
-                                                                  false)),
-                                                                  (String
-                                                                  ((Ascii
-                                                                  (false,
-                                                                  false,
-                                                                  true, true,
-                                                                  false,
-                                                                  true, true,
-                                                                  false)),
-                                                                  (String
-                                                                  ((Ascii
-                                                                  (true,
-                                                                  true,
-                                                                  false,
-                                                                  false,
-                                                                  false,
-                                                                  false,
-                                                                  true,
-                                                                  false)),
-                                                                  (String
-                                                                  ((Ascii
-                                                                  (true,
-                                                                  false,
-                                                                  false,
-                                                                  true,
-                                                                  false,
-                                                                  true, true,
-                                                                  false)),
-                                                                  (String
-                                                                  ((Ascii
-                                                                  (false,
-                                                                  false,
-                                                                  true,
-                                                                  false,
-                                                                  true, true,
-                                                                  true,
-                                                                  false)),
-                                                                  (String
-                                                                  ((Ascii
-                                                                  (true,
-                                                                  false,
-                                                                  false,
-                                                                  true, true,
-                                                                  true, true,
-                                                                  false)),
-                                                                  EmptyString))))))))))))))))))))))))
-                                                                  ((String
-                                                                  ((Ascii
-                                                                  (true,
-                                                                  true,
-                                                                  false,
-                                                                  false,
-                                                                  true, true,
-                                                                  true,
-                                                                  false)),
-                                                                  (String
-                                                                  ((Ascii
-                                                                  (false,
-                                                                  false,
-                                                                  true,
-                                                                  false,
-                                                                  true, true,
-                                                                  true,
-                                                                  false)),
-                                                                  (String
-                                                                  ((Ascii
-                                                                  (false,
-                                                                  true,
-                                                                  false,
-                                                                  false,
-                                                                  true, true,
-                                                                  true,
-                                                                  false)),
-                                                                  (String
-                                                                  ((Ascii
-                                                                  (true,
-                                                                  false,
-                                                                  false,
-                                                                  true,
-                                                                  false,
-                                                                  true, true,
-                                                                  false)),
-                                                                  (String
-                                                                  ((Ascii
-                                                                  (false,
-                                                                  true, true,
-                                                                  true,
-                                                                  false,
-                                                                  true, true,
-                                                                  false)),
-                                                                  (String
-                                                                  ((Ascii
-                                                                  (true,
-                                                                  true, true,
-                                                                  false,
-                                                                  false,
-                                                                  true, true,
-                                                                  false)),
-                                                                  (String
-                                                                  ((Ascii
-                                                                  (true,
-                                                                  true,
-                                                                  false,
-                                                                  false,
-                                                                  true, true,
-                                                                  true,
-                                                                  false)),
-                                                                  (String
-                                                                  ((Ascii
-                                                                  (false,
-                                                                  true, true,
-                                                                  true,
-                                                                  false,
-                                                                  true,
-                                                                  false,
-                                                                  false)),
-                                                                  (String
-                                                                  ((Ascii
-                                                                  (false,
-                                                                  false,
-                                                                  true,
-                                                                  false,
-                                                                  true,
-                                                                  false,
-                                                                  true,
-                                                                  false)),
-                                                                  (String
-                                                                  ((Ascii
-                                                                  (false,
-                                                                  true,
-                                                                  false,
-                                                                  false,
-                                                                  true, true,
-                                                                  true,
-                                                                  false)),
-                                                                  (String
-                                                                  ((Ascii
-                                                                  (true,
-                                                                  false,
-                                                                  false,
-                                                                  true,
-                                                                  false,
-                                                                  true, true,
-                                                                  false)),
-                                                                  (String
-                                                                  ((Ascii
-                                                                  (true,
-                                                                  false,
-                                                                  true, true,
-                                                                  false,
-                                                                  true, true,
-                                                                  false)),
-                                                                  (String
-                                                                  ((Ascii
-                                                                  (true,
-                                                                  true,
-                                                                  false,
-                                                                  false,
-                                                                  true,
-                                                                  false,
-                                                                  true,
-                                                                  false)),
-                                                                  (String
-                                                                  ((Ascii
-                                                                  (false,
-                                                                  false,
-                                                                  false,
-                                                                  false,
-                                                                  true, true,
-                                                                  true,
-                                                                  false)),
-                                                                  (String
-                                                                  ((Ascii
-                                                                  (true,
-                                                                  false,
-                                                                  false,
-                                                                  false,
-                                                                  false,
-                                                                  true, true,
-                                                                  false)),
-                                                                  (String
-                                                                  ((Ascii
-                                                                  (true,
-                                                                  true,
-                                                                  false,
-                                                                  false,
-                                                                  false,
-                                                                  true, true,
-                                                                  false)),
-                                                                  (String
-                                                                  ((Ascii
-                                                                  (true,
-                                                                  false,
-                                                                  true,
-                                                                  false,
-                                                                  false,
-                                                                  true, true,
-                                                                  false)),
-                                                                  EmptyString)))))))))))))))))))))))))))))))))) :: [])) :: (
-    (mkcut (S (S (S (S (S (S (S (S (S (S (S (S (S (S (S (S (S (S (S (S (S (S
-      (S (S (S (S (S (S (S (S (S (S (S (S (S (S (S (S (S (S (S (S (S (S (S (S
-      (S (S (S (S (S (S (S (S (S (S (S (S (S (S (S (S (S (S (S (S (S (S (S (S
-      (S (S (S (S (S (S (S
-      O)))))))))))))))))))))))))))))))))))))))))))))))))))))))))))))))))))))))))))))
-      (S (S (S (S (S (S (S (S (S (S (S (S (S (S (S (S (S (S (S (S (S (S (S (S
-      (S (S (S (S (S (S (S (S (S (S (S (S (S (S (S (S (S (S (S (S (S (S (S (S
-      (S (S (S (S (S (S (S (S (S (S (S (S (S (S (S (S (S (S (S (S (S (S (S (S
-      (S (S (S (S (S (S (S
-      O)))))))))))))))))))))))))))))))))))))))))))))))))))))))))))))))))))))))))))))))
-      (String ((Ascii (false, false, true, false, true, false, true, false)),
-      (String ((Ascii (true, false, true, false, false, true, true, false)),
-      (String ((Ascii (false, true, false, false, true, true, true, false)),
-      (String ((Ascii (true, false, true, true, false, true, true, false)),
-      (String ((Ascii (true, false, false, true, false, true, true, false)),
-      (String ((Ascii (false, true, true, true, false, true, true, false)),
-      (String ((Ascii (true, false, false, false, false, true, true, false)),
-      (String ((Ascii (false, false, true, true, false, true, true, false)),
-      (String ((Ascii (true, true, false, false, true, false, true, false)),
-      (String ((Ascii (false, false, true, false, true, true, true, false)),
-      (String ((Ascii (true, false, false, false, false, true, true, false)),
-      (String ((Ascii (false, false, true, false, true, true, true, false)),
-      (String ((Ascii (true, false, true, false, false, true, true, false)),
-      EmptyString)))))))))))))))))))))))))) ((String ((Ascii (true, true,
-      false, false, true, true, true, false)), (String ((Ascii (false, false,
-      true, false, true, true, true, false)), (String ((Ascii (false, true,
-      false, false, true, true, true, false)), (String ((Ascii (true, false,
-      false, true, false, true, true, false)), (String ((Ascii (false, true,
-      true, true, false, true, true, false)), (String ((Ascii (true, true,
-      true, false, false, true, true, false)), (String ((Ascii (true, true,
-      false, false, true, true, true, false)), (String ((Ascii (false, true,
-      true, true, false, true, false, false)), (String ((Ascii (false, false,
-      true, false, true, false, true, false)), (String ((Ascii (false, true,
-      false, false, true, true, true, false)), (String ((Ascii (true, false,
-      false, true, false, true, true, false)), (String ((Ascii (true, false,
-      true, true, false, true, true, false)), (String ((Ascii (true, true,
-      false, false, true, false, true, false)), (String ((Ascii (false,
-      false, false, false, true, true, true, false)), (String ((Ascii (true,
-      false, false, false, false, true, true, false)), (String ((Ascii (true,
-      true, false, false, false, true, true, false)), (String ((Ascii (true,
-      false, true, false, false, true, true, false)),
-      EmptyString)))))))))))))))))))))))))))))))))) :: [])) :: ((mkcut (S (S
-                                                                  (S (S (S (S
-                                                                  (S (S (S (S
-                                                                  (S (S (S (S
-                                                                  (S (S (S (S
-                                                                  (S (S (S (S
-                                                                  (S (S (S (S
-                                                                  (S (S (S (S
-                                                                  (S (S (S (S
-                                                                  (S (S (S (S
-                                                                  (S (S (S (S
-                                                                  (S (S (S (S
-                                                                  (S (S (S (S
-                                                                  (S (S (S (S
-                                                                  (S (S (S (S
-                                                                  (S (S (S (S
-                                                                  (S (S (S (S
-                                                                  (S (S (S (S
-                                                                  (S (S (S (S
-                                                                  (S (S (S (S
-                                                                  (S
-                                                                  O)))))))))))))))))))))))))))))))))))))))))))))))))))))))))))))))))))))))))))))))
-                                                                  (S (S (S (S
-                                                                  (S (S (S (S
-                                                                  (S (S (S (S
-                                                                  (S (S (S (S
-                                                                  (S (S (S (S
-                                                                  (S (S (S (S
-                                                                  (S (S (S (S
-                                                                  (S (S (S (S
-                                                                  (S (S (S (S
-                                                                  (S (S (S (S
-                                                                  (S (S (S (S
-                                                                  (S (S (S (S
-                                                                  (S (S (S (S
-                                                                  (S (S (S (S
-                                                                  (S (S (S (S
-                                                                  (S (S (S (S
-                                                                  (S (S (S (S
-                                                                  (S (S (S (S
-                                                                  (S (S (S (S
-                                                                  (S (S (S (S
-                                                                  (S (S (S (S
-                                                                  (S (S (S (S
-                                                                  (S (S (S (S
-                                                                  (S (S
-                                                                  O))))))))))))))))))))))))))))))))))))))))))))))))))))))))))))))))))))))))))))))))))))))))))))))
-                                                                  (String
-                                                                  ((Ascii
-                                                                  (false,
-                                                                  false,
-                                                                  true,
-                                                                  false,
-                                                                  true,
-                                                                  false,
-                                                                  true,
-                                                                  false)),
-                                                                  (String
-                                                                  ((Ascii
-                                                                  (false,
-                                                                  true,
-                                                                  false,
-                                                                  false,
-                                                                  true, true,
-                                                                  true,
-                                                                  false)),
-                                                                  (String
-                                                                  ((Ascii
-                                                                  (true,
-                                                                  false,
-                                                                  false,
-                                                                  false,
-                                                                  false,
-                                                                  true, true,
-                                                                  false)),
-                                                                  (String
-                                                                  ((Ascii
-                                                                  (true,
-                                                                  true,
-                                                                  false,
-                                                                  false,
-                                                                  false,
-                                                                  true, true,
-                                                                  false)),
-                                                                  (String
-                                                                  ((Ascii
-                                                                  (true,
-                                                                  false,
-                                                                  true,
-                                                                  false,
-                                                                  false,
-                                                                  true, true,
-                                                                  false)),
-                                                                  (String
-                                                                  ((Ascii
-                                                                  (false,
-                                                                  true, true,
-                                                                  true,
-                                                                  false,
-                                                                  false,
-                                                                  true,
-                                                                  false)),
-                                                                  (String
-                                                                  ((Ascii
-                                                                  (true,
-                                                                  false,
-                                                                  true,
-                                                                  false,
-                                                                  true, true,
-                                                                  true,
-                                                                  false)),
-                                                                  (String
-                                                                  ((Ascii
-                                                                  (true,
-                                                                  false,
-                                                                  true, true,
-                                                                  false,
-                                                                  true, true,
-                                                                  false)),
-                                                                  (String
-                                                                  ((Ascii
-                                                                  (false,
-                                                                  true,
-                                                                  false,
-                                                                  false,
-                                                                  false,
-                                                                  true, true,
-                                                                  false)),
-                                                                  (String
-                                                                  ((Ascii
-                                                                  (true,
-                                                                  false,
-                                                                  true,
-                                                                  false,
-                                                                  false,
-                                                                  true, true,
-                                                                  false)),
-                                                                  (String
-                                                                  ((Ascii
-                                                                  (false,
-                                                                  true,
-                                                                  false,
-                                                                  false,
-                                                                  true, true,
-                                                                  true,
-                                                                  false)),
-                                                                  EmptyString))))))))))))))))))))))
-                                                                  ((String
-                                                                  ((Ascii
-                                                                  (true,
-                                                                  true,
-                                                                  false,
-                                                                  false,
-                                                                  true, true,
-                                                                  true,
-                                                                  false)),
-                                                                  (String
-                                                                  ((Ascii
-                                                                  (false,
-                                                                  false,
-                                                                  true,
-                                                                  false,
-                                                                  true, true,
-                                                                  true,
-                                                                  false)),
-                                                                  (String
-                                                                  ((Ascii
-                                                                  (false,
-                                                                  true,
-                                                                  false,
-                                                                  false,
-                                                                  true, true,
-                                                                  true,
-                                                                  false)),
-                                                                  (String
-                                                                  ((Ascii
-                                                                  (true,
-                                                                  false,
-                                                                  false,
-                                                                  true,
-                                                                  false,
-                                                                  true, true,
-                                                                  false)),
-                                                                  (String
-                                                                  ((Ascii
-                                                                  (false,
-                                                                  true, true,
-                                                                  true,
-                                                                  false,
-                                                                  true, true,
-                                                                  false)),
-                                                                  (String
-                                                                  ((Ascii
-                                                                  (true,
-                                                                  true, true,
-                                                                  false,
-                                                                  false,
-                                                                  true, true,
-                                                                  false)),
-                                                                  (String
-                                                                  ((Ascii
-                                                                  (true,
-                                                                  true,
-                                                                  false,
-                                                                  false,
-                                                                  true, true,
-                                                                  true,
-                                                                  false)),
-                                                                  (String
-                                                                  ((Ascii
-                                                                  (false,
-                                                                  true, true,
-                                                                  true,
-                                                                  false,
-                                                                  true,
-                                                                  false,
-                                                                  false)),
-                                                                  (String
-                                                                  ((Ascii
-                                                                  (false,
-                                                                  false,
-                                                                  true,
-                                                                  false,
-                                                                  true,
-                                                                  false,
-                                                                  true,
-                                                                  false)),
-                                                                  (String
-                                                                  ((Ascii
-                                                                  (false,
-                                                                  true,
-                                                                  false,
-                                                                  false,
-                                                                  true, true,
-                                                                  true,
-                                                                  false)),
-                                                                  (String
-                                                                  ((Ascii
-                                                                  (true,
-                                                                  false,
-                                                                  false,
-                                                                  true,
-                                                                  false,
-                                                                  true, true,
-                                                                  false)),
-                                                                  (String
-                                                                  ((Ascii
-                                                                  (true,
-                                                                  false,
-                                                                  true, true,
-                                                                  false,
-                                                                  true, true,
-                                                                  false)),
-                                                                  (String
-                                                                  ((Ascii
-                                                                  (true,
-                                                                  true,
-                                                                  false,
-                                                                  false,
-                                                                  true,
-                                                                  false,
-                                                                  true,
-                                                                  false)),
-                                                                  (String
-                                                                  ((Ascii
-                                                                  (false,
-                                                                  false,
-                                                                  false,
-                                                                  false,
-                                                                  true, true,
-                                                                  true,
-                                                                  false)),
-                                                                  (String
-                                                                  ((Ascii
-                                                                  (true,
-                                                                  false,
-                                                                  false,
-                                                                  false,
-                                                                  false,
-                                                                  true, true,
-                                                                  false)),
-                                                                  (String
-                                                                  ((Ascii
-                                                                  (true,
-                                                                  true,
-                                                                  false,
-                                                                  false,
-                                                                  false,
-                                                                  true, true,
-                                                                  false)),
-                                                                  (String
-                                                                  ((Ascii
-                                                                  (true,
-                                                                  false,
-                                                                  true,
-                                                                  false,
-                                                                  false,
-                                                                  true, true,
-                                                                  false)),
-                                                                  EmptyString)))))))))))))))))))))))))))))))))) :: [])) :: [])))))))))))) }
-
-(** val l_Addenda05 : layout **)
-
-let l_Addenda05 =
-  { l_name = (String ((Ascii (true, false, false, false, false, false, true,
-    false)), (String ((Ascii (false, false, true, false, false, true, true,
-    false)), (String ((Ascii (false, false, true, false, false, true, true,
-    false)), (String ((Ascii (true, false, true, false, false, true, true,
-    false)), (String ((Ascii (false, true, true, true, false, true, true,
-    false)), (String ((Ascii (false, false, true, false, false, true, true,
-    false)), (String ((Ascii (true, false, false, false, false, true, true,
-    false)), (String ((Ascii (false, false, false, false, true, true, false,
-    false)), (String ((Ascii (true, false, true, false, true, true, false,
-    false)), EmptyString)))))))))))))))))); l_ix = IRune; l_segs = ((SLit
-    ((Npos (XI (XI (XI (XO (XI XH)))))) :: [])) :: ((SRaw (String ((Ascii
-    (false, false, true, false, true, false, true, false)), (String ((Ascii
-    (true, false, false, true, true, true, true, false)), (String ((Ascii
-    (false, false, false, false, true, true, true, false)), (String ((Ascii
-    (true, false, true, false, false, true, true, false)), (String ((Ascii
-    (true, true, false, false, false, false, true, false)), (String ((Ascii
-    (true, true, true, true, false, true, true, false)), (String ((Ascii
-    (false, false, true, false, false, true, true, false)), (String ((Ascii
-    (true, false, true, false, false, true, true, false)),
-    EmptyString))))))))))))))))) :: ((SAlpha ((String ((Ascii (false, false,
-    false, false, true, false, true, false)), (String ((Ascii (true, false,
-    false, false, false, true, true, false)), (String ((Ascii (true, false,
-    false, true, true, true, true, false)), (String ((Ascii (true, false,
-    true, true, false, true, true, false)), (String ((Ascii (true, false,
-    true, false, false, true, true, false)), (String ((Ascii (false, true,
-    true, true, false, true, true, false)), (String ((Ascii (false, false,
-    true, false, true, true, true, false)), (String ((Ascii (false, true,
-    false, false, true, false, true, false)), (String ((Ascii (true, false,
-    true, false, false, true, true, false)), (String ((Ascii (false, false,
-    true, true, false, true, true, false)), (String ((Ascii (true, false,
-    false, false, false, true, true, false)), (String ((Ascii (false, false,
-    true, false, true, true, true, false)), (String ((Ascii (true, false,
-    true, false, false, true, true, false)), (String ((Ascii (false, false,
-    true, false, false, true, true, false)), (String ((Ascii (true, false,
-    false, true, false, false, true, false)), (String ((Ascii (false, true,
-    true, true, false, true, true, false)), (String ((Ascii (false, true,
-    true, false, false, true, true, false)), (String ((Ascii (true, true,
-    true, true, false, true, true, false)), (String ((Ascii (false, true,
-    false, false, true, true, true, false)), (String ((Ascii (true, false,
-    true, true, false, true, true, false)), (String ((Ascii (true, false,
-    false, false, false, true, true, false)), (String ((Ascii (false, false,
-    true, false, true, true, true, false)), (String ((Ascii (true, false,
-    false, true, false, true, true, false)), (String ((Ascii (true, true,
-    true, true, false, true, true, false)), (String ((Ascii (false, true,
-    true, true, false, true, true, false)),
-    EmptyString)))))))))))))))))))))))))))))))))))))))))))))))))), (S (S (S
-    (S (S (S (S (S (S (S (S (S (S (S (S (S (S (S (S (S (S (S (S (S (S (S (S
-    (S (S (S (S (S (S (S (S (S (S (S (S (S (S (S (S (S (S (S (S (S (S (S (S
-    (S (S (S (S (S (S (S (S (S (S (S (S (S (S (S (S (S (S (S (S (S (S (S (S
-    (S (S (S (S (S
-    O)))))))))))))))))))))))))))))))))))))))))))))))))))))))))))))))))))))))))))))))))) :: ((SNum
-    ((String ((Ascii (true, true, false, false, true, false, true, false)),
-    (String ((Ascii (true, false, true, false, false, true, true, false)),
-    (String ((Ascii (true, false, false, false, true, true, true, false)),
-    (String ((Ascii (true, false, true, false, true, true, true, false)),
-    (String ((Ascii (true, false, true, false, false, true, true, false)),
-    (String ((Ascii (false, true, true, true, false, true, true, false)),
-    (String ((Ascii (true, true, false, false, false, true, true, false)),
-    (String ((Ascii (true, false, true, false, false, true, true, false)),
-    (String ((Ascii (false, true, true, true, false, false, true, false)),
-    (String ((Ascii (true, false, true, false, true, true, true, false)),
-    (String ((Ascii (true, false, true, true, false, true, true, false)),
-    (String ((Ascii (false, true, false, false, false, true, true, false)),
-    (String ((Ascii (true, false, true, false, false, true, true, false)),
-    (String ((Ascii (false, true, false, false, true, true, true, false)),
-    EmptyString)))))))))))))))))))))))))))), (S (S (S (S O)))))) :: ((SNum
-    ((String ((Ascii (true, false, true, false, false, false, true, false)),
-    (String ((Ascii (false, true, true, true, false, true, true, false)),
-    (String ((Ascii (false, false, true, false, true, true, true, false)),
-    (String ((Ascii (false, true, false, false, true, true, true, false)),
-    (String ((Ascii (true, false, false, true, true, true, true, false)),
-    (String ((Ascii (false, false, true, false, false, false, true, false)),
-    (String ((Ascii (true, false, true, false, false, true, true, false)),
-    (String ((Ascii (false, false, true, false, true, true, true, false)),
-    (String ((Ascii (true, false, false, false, false, true, true, false)),
-    (String ((Ascii (true, false, false, true, false, true, true, false)),
-    (String ((Ascii (false, false, true, true, false, true, true, false)),
-    (String ((Ascii (true, true, false, false, true, false, true, false)),
-    (String ((Ascii (true, false, true, false, false, true, true, false)),
-    (String ((Ascii (true, false, false, false, true, true, true, false)),
-    (String ((Ascii (true, false, true, false, true, true, true, false)),
-    (String ((Ascii (true, false, true, false, false, true, true, false)),
-    (String ((Ascii (false, true, true, true, false, true, true, false)),
-    (String ((Ascii (true, true, false, false, false, true, true, false)),
-    (String ((Ascii (true, false, true, false, false, true, true, false)),
-    (String ((Ascii (false, true, true, true, false, false, true, false)),
-    (String ((Ascii (true, false, true, false, true, true, true, false)),
-    (String ((Ascii (true, false, true, true, false, true, true, false)),
-    (String ((Ascii (false, true, false, false, false, true, true, false)),
-    (String ((Ascii (true, false, true, false, false, true, true, false)),
-    (String ((Ascii (false, true, false, false, true, true, true, false)),
-    EmptyString)))))))))))))))))))))))))))))))))))))))))))))))))), (S (S (S
-    (S (S (S (S O))))))))) :: []))))); l_cuts =
-    ((mkcut O (S O) EmptyString []) :: ((mkcut (S O) (S (S (S O))) (String
-                                          ((Ascii (false, false, true, false,
-                                          true, false, true, false)), (String
-                                          ((Ascii (true, false, false, true,
-                                          true, true, true, false)), (String
-                                          ((Ascii (false, false, false,
-                                          false, true, true, true, false)),
-                                          (String ((Ascii (true, false, true,
-                                          false, false, true, true, false)),
-                                          (String ((Ascii (true, true, false,
-                                          false, false, false, true, false)),
-                                          (String ((Ascii (true, true, true,
-                                          true, false, true, true, false)),
-                                          (String ((Ascii (false, false,
-                                          true, false, false, true, true,
-                                          false)), (String ((Ascii (true,
-                                          false, true, false, false, true,
-                                          true, false)),
-                                          EmptyString)))))))))))))))) []) :: (
-    (mkcut (S (S (S O))) (S (S (S (S (S (S (S (S (S (S (S (S (S (S (S (S (S
-      (S (S (S (S (S (S (S (S (S (S (S (S (S (S (S (S (S (S (S (S (S (S (S (S
-      (S (S (S (S (S (S (S (S (S (S (S (S (S (S (S (S (S (S (S (S (S (S (S (S
-      (S (S (S (S (S (S (S (S (S (S (S (S (S (S (S (S (S (S
-      O)))))))))))))))))))))))))))))))))))))))))))))))))))))))))))))))))))))))))))))))))))
-      (String ((Ascii (false, false, false, false, true, false, true,
-      false)), (String ((Ascii (true, false, false, false, false, true, true,
-      false)), (String ((Ascii (true, false, false, true, true, true, true,
-      false)), (String ((Ascii (true, false, true, true, false, true, true,
-      false)), (String ((Ascii (true, false, true, false, false, true, true,
-      false)), (String ((Ascii (false, true, true, true, false, true, true,
-      false)), (String ((Ascii (false, false, true, false, true, true, true,
-      false)), (String ((Ascii (false, true, false, false, true, false, true,
-      false)), (String ((Ascii (true, false, true, false, false, true, true,
-      false)), (String ((Ascii (false, false, true, true, false, true, true,
-      false)), (String ((Ascii (true, false, false, false, false, true, true,
-      false)), (String ((Ascii (false, false, true, false, true, true, true,
-      false)), (String ((Ascii (true, false, true, false, false, true, true,
-      false)), (String ((Ascii (false, false, true, false, false, true, true,
-      false)), (String ((Ascii (true, false, false, true, false, false, true,
-      false)), (String ((Ascii (false, true, true, true, false, true, true,
-      false)), (String ((Ascii (false, true, true, false, false, true, true,
-      false)), (String ((Ascii (true, true, true, true, false, true, true,
-      false)), (String ((Ascii (false, true, false, false, true, true, true,
-      false)), (String ((Ascii (true, false, true, true, false, true, true,
-      false)), (String ((Ascii (true, false, false, false, false, true, true,
-      false)), (String ((Ascii (false, false, true, false, true, true, true,
-      false)), (String ((Ascii (true, false, false, true, false, true, true,
-      false)), (String ((Ascii (true, true, true, true, false, true, true,
-      false)), (String ((Ascii (false, true, true, true, false, true, true,
-      false)), EmptyString))))))))))))))))))))))))))))))))))))))))))))))))))
-      ((String ((Ascii (true, true, false, false, true, true, true, false)),
-      (String ((Ascii (false, false, true, false, true, true, true, false)),
-      (String ((Ascii (false, true, false, false, true, true, true, false)),
-      (String ((Ascii (true, false, false, true, false, true, true, false)),
-      (String ((Ascii (false, true, true, true, false, true, true, false)),
-      (String ((Ascii (true, true, true, false, false, true, true, false)),
-      (String ((Ascii (true, true, false, false, true, true, true, false)),
-      (String ((Ascii (false, true, true, true, false, true, false, false)),
-      (String ((Ascii (false, false, true, false, true, false, true, false)),
-      (String ((Ascii (false, true, false, false, true, true, true, false)),
-      (String ((Ascii (true, false, false, true, false, true, true, false)),
-      (String ((Ascii (true, false, true, true, false, true, true, false)),
-      (String ((Ascii (true, true, false, false, true, false, true, false)),
-      (String ((Ascii (false, false, false, false, true, true, true, false)),
-      (String ((Ascii (true, false, false, false, false, true, true, false)),
-      (String ((Ascii (true, true, false, false, false, true, true, false)),
-      (String ((Ascii (true, false, true, false, false, true, true, false)),
-      EmptyString)))))))))))))))))))))))))))))))))) :: [])) :: ((mkcut (S (S
-                                                                  (S (S (S (S
-                                                                  (S (S (S (S
-                                                                  (S (S (S (S
-                                                                  (S (S (S (S
-                                                                  (S (S (S (S
-                                                                  (S (S (S (S
-                                                                  (S (S (S (S
-                                                                  (S (S (S (S
-                                                                  (S (S (S (S
-                                                                  (S (S (S (S
-                                                                  (S (S (S (S
-                                                                  (S (S (S (S
-                                                                  (S (S (S (S
-                                                                  (S (S (S (S
-                                                                  (S (S (S (S
-                                                                  (S (S (S (S
-                                                                  (S (S (S (S
-                                                                  (S (S (S (S
-                                                                  (S (S (S (S
-                                                                  (S (S (S (S
-                                                                  (S
-                                                                  O)))))))))))))))))))))))))))))))))))))))))))))))))))))))))))))))))))))))))))))))))))
-                                                                  (S (S (S (S
-                                                                  (S (S (S (S
-                                                                  (S (S (S (S
-                                                                  (S (S (S (S
-                                                                  (S (S (S (S
-                                                                  (S (S (S (S
-                                                                  (S (S (S (S
-                                                                  (S (S (S (S
-                                                                  (S (S (S (S
-                                                                  (S (S (S (S
-                                                                  (S (S (S (S
-                                                                  (S (S (S (S
-                                                                  (S (S (S (S
-                                                                  (S (S (S (S
-                                                                  (S (S (S (S
-                                                                  (S (S (S (S
-                                                                  (S (S (S (S
-                                                                  (S (S (S (S
-                                                                  (S (S (S (S
-                                                                  (S (S (S (S
-                                                                  (S (S (S (S
-                                                                  (S (S (S
-                                                                  O)))))))))))))))))))))))))))))))))))))))))))))))))))))))))))))))))))))))))))))))))))))))
-                                                                  (String
-                                                                  ((Ascii
-                                                                  (true,
-                                                                  true,
-                                                                  false,
-                                                                  false,
-                                                                  true,
-                                                                  false,
-                                                                  true,
-                                                                  false)),
-                                                                  (String
-                                                                  ((Ascii
-                                                                  (true,
-                                                                  false,
-                                                                  true,
-                                                                  false,
-                                                                  false,
-                                                                  true, true,
-                                                                  false)),
-                                                                  (String
-                                                                  ((Ascii
-                                                                  (true,
-                                                                  false,
-                                                                  false,
-                                                                  false,
-                                                                  true, true,
-                                                                  true,
-                                                                  false)),
-                                                                  (String
-                                                                  ((Ascii
-                                                                  (true,
-                                                                  false,
-                                                                  true,
-                                                                  false,
-                                                                  true, true,
-                                                                  true,
-                                                                  false)),
-                                                                  (String
-                                                                  ((Ascii
-                                                                  (true,
-                                                                  false,
-                                                                  true,
-                                                                  false,
-                                                                  false,
-                                                                  true, true,
-                                                                  false)),
-                                                                  (String
-                                                                  ((Ascii
-                                                                  (false,
-                                                                  true, true,
-                                                                  true,
-                                                                  false,
-                                                                  true, true,
-                                                                  false)),
-                                                                  (String
-                                                                  ((Ascii
-                                                                  (true,
-                                                                  true,
-                                                                  false,
-                                                                  false,
-                                                                  false,
-                                                                  true, true,
-                                                                  false)),
-                                                                  (String
-                                                                  ((Ascii
-                                                                  (true,
-                                                                  false,
-                                                                  true,
-                                                                  false,
-                                                                  false,
-                                                                  true, true,
-                                                                  false)),
-                                                                  (String
-                                                                  ((Ascii
-                                                                  (false,
-                                                                  true, true,
-                                                                  true,
-                                                                  false,
-                                                                  false,
-                                                                  true,
-                                                                  false)),
-                                                                  (String
-                                                                  ((Ascii
-                                                                  (true,
-                                                                  false,
-                                                                  true,
-                                                                  false,
-                                                                  true, true,
-                                                                  true,
-                                                                  false)),
-                                                                  (String
-                                                                  ((Ascii
-                                                                  (true,
-                                                                  false,
-                                                                  true, true,
-                                                                  false,
-                                                                  true, true,
-                                                                  false)),
-                                                                  (String
-                                                                  ((Ascii
-                                                                  (false,
-                                                                  true,
-                                                                  false,
-                                                                  false,
-                                                                  false,
-                                                                  true, true,
-                                                                  false)),
-                                                                  (String
-                                                                  ((Ascii
-                                                                  (true,
-                                                                  false,
-                                                                  true,
-                                                                  false,
-                                                                  false,
-                                                                  true, true,
-                                                                  false)),
-                                                                  (String
-                                                                  ((Ascii
-                                                                  (false,
-                                                                  true,
-                                                                  false,
-                                                                  false,
-                                                                  true, true,
-                                                                  true,
-                                                                  false)),
-                                                                  EmptyString))))))))))))))))))))))))))))
-                                                                  ((String
-                                                                  ((Ascii
-                                                                  (false,
-                                                                  false,
-                                                                  false,
-                                                                  false,
-                                                                  true, true,
-                                                                  true,
-                                                                  false)),
-                                                                  (String
-                                                                  ((Ascii
-                                                                  (true,
-                                                                  false,
-                                                                  false,
-                                                                  false,
-                                                                  false,
-                                                                  true, true,
-                                                                  false)),
-                                                                  (String
-                                                                  ((Ascii
-                                                                  (false,
-                                                                  true,
-                                                                  false,
-                                                                  false,
-                                                                  true, true,
-                                                                  true,
-                                                                  false)),
-                                                                  (String
-                                                                  ((Ascii
-                                                                  (true,
-                                                                  true,
-                                                                  false,
-                                                                  false,
-                                                                  true, true,
-                                                                  true,
-                                                                  false)),
-                                                                  (String
-                                                                  ((Ascii
-                                                                  (true,
-                                                                  false,
-                                                                  true,
-                                                                  false,
-                                                                  false,
-                                                                  true, true,
-                                                                  false)),
-                                                                  (String
-                                                                  ((Ascii
-                                                                  (false,
-                                                                  true, true,
-                                                                  true,
-                                                                  false,
-                                                                  false,
-                                                                  true,
-                                                                  false)),
-                                                                  (String
-                                                                  ((Ascii
-                                                                  (true,
-                                                                  false,
-                                                                  true,
-                                                                  false,
-                                                                  true, true,
-                                                                  true,
-                                                                  false)),
-                                                                  (String
-                                                                  ((Ascii
-                                                                  (true,
-                                                                  false,
-                                                                  true, true,
-                                                                  false,
-                                                                  true, true,
-                                                                  false)),
-                                                                  (String
-                                                                  ((Ascii
-                                                                  (false,
-                                                                  true, true,
-                                                                  false,
-                                                                  false,
-                                                                  false,
-                                                                  true,
-                                                                  false)),
-                                                                  (String
-                                                                  ((Ascii
-                                                                  (true,
-                                                                  false,
-                                                                  false,
-                                                                  true,
-                                                                  false,
-                                                                  true, true,
-                                                                  false)),
-                                                                  (String
-                                                                  ((Ascii
-                                                                  (true,
-                                                                  false,
-                                                                  true,
-                                                                  false,
-                                                                  false,
-                                                                  true, true,
-                                                                  false)),
-                                                                  (String
-                                                                  ((Ascii
-                                                                  (false,
-                                                                  false,
-                                                                  true, true,
-                                                                  false,
-                                                                  true, true,
-                                                                  false)),
-                                                                  (String
-                                                                  ((Ascii
-                                                                  (false,
-                                                                  false,
-                                                                  true,
-                                                                  false,
-                                                                  false,
-                                                                  true, true,
-                                                                  false)),
-                                                                  EmptyString)))))))))))))))))))))))))) :: [])) :: (
-    (mkcut (S (S (S (S (S (S (S (S (S (S (S (S (S (S (S (S (S (S (S (S (S (S
-      (S (S (S (S (S (S (S (S (S (S (S (S (S (S (S (S (S (S (S (S (S (S (S (S
-      (S (S (S (S (S (S (S (S (S (S (S (S (S (S (S (S (S (S (S (S (S (S (S (S
-      (S (S (S (S (S (S (S (S (S (S (S (S (S (S (S (S (S
-      O)))))))))))))))))))))))))))))))))))))))))))))))))))))))))))))))))))))))))))))))))))))))
-      (S (S (S (S (S (S (S (S (S (S (S (S (S (S (S (S (S (S (S (S (S (S (S (S
-      (S (S (S (S (S (S (S (S (S (S (S (S (S (S (S (S (S (S (S (S (S (S (S (S
-      (S (S (S (S (S (S (S (S (S (S (S (S (S (S (S (S (S (S (S (S (S (S (S (S
-      (S (S (S (S (S (S (S (S (S (S (S (S (S (S (S (S (S (S (S (S (S (S
-      O))))))))))))))))))))))))))))))))))))))))))))))))))))))))))))))))))))))))))))))))))))))))))))))
-      (String ((Ascii (true, false, true, false, false, false, true, false)),
-      (String ((Ascii (false, true, true, true, false, true, true, false)),
-      (String ((Ascii (false, false, true, false, true, true, true, false)),
-      (String ((Ascii (false, true, false, false, true, true, true, false)),
-      (String ((Ascii (true, false, false, true, true, true, true, false)),
-      (String ((Ascii (false, false, true, false, false, false, true,
-      false)), (String ((Ascii (true, false, true, false, false, true, true,
-      false)), (String ((Ascii (false, false, true, false, true, true, true,
-      false)), (String ((Ascii (true, false, false, false, false, true, true,
-      false)), (String ((Ascii (true, false, false, true, false, true, true,
-      false)), (String ((Ascii (false, false, true, true, false, true, true,
-      false)), (String ((Ascii (true, true, false, false, true, false, true,
-      false)), (String ((Ascii (true, false, true, false, false, true, true,
-      false)), (String ((Ascii (true, false, false, false, true, true, true,
-      false)), (String ((Ascii (true, false, true, false, true, true, true,
-      false)), (String ((Ascii (true, false, true, false, false, true, true,
-      false)), (String ((Ascii (false, true, true, true, false, true, true,
-      false)), (String ((Ascii (true, true, false, false, false, true, true,
-      false)), (String ((Ascii (true, false, true, false, false, true, true,
-      false)), (String ((Ascii (false, true, true, true, false, false, true,
-      false)), (String ((Ascii (true, false, true, false, true, true, true,
-      false)), (String ((Ascii (true, false, true, true, false, true, true,
-      false)), (String ((Ascii (false, true, false, false, false, true, true,
-      false)), (String ((Ascii (true, false, true, false, false, true, true,
-      false)), (String ((Ascii (false, true, false, false, true, true, true,
-      false)), EmptyString))))))))))))))))))))))))))))))))))))))))))))))))))
-      ((String ((Ascii (false, false, false, false, true, true, true,
-      false)), (String ((Ascii (true, false, false, false, false, true, true,
-      false)), (String ((Ascii (false, true, false, false, true, true, true,
-      false)), (String ((Ascii (true, true, false, false, true, true, true,
-      false)), (String ((Ascii (true, false, true, false, false, true, true,
-      false)), (String ((Ascii (false, true, true, true, false, false, true,
-      false)), (String ((Ascii (true, false, true, false, true, true, true,
-      false)), (String ((Ascii (true, false, true, true, false, true, true,
-      false)), (String ((Ascii (false, true, true, false, false, false, true,
-      false)), (String ((Ascii (true, false, false, true, false, true, true,
-      false)), (String ((Ascii (true, false, true, false, false, true, true,
-      false)), (String ((Ascii (false, false, true, true, false, true, true,
-      false)), (String ((Ascii (false, false, true, false, false, true, true,
-      false)), EmptyString)))))))))))))))))))))))))) :: [])) :: []))))) }
-
-(** val l_Addenda10 : layout **)
-
-let l_Addenda10 =
-  { l_name = (String ((Ascii (true, false, false, false, false, false, true,
-    false)), (String ((Ascii (false, false, true, false, false, true, true,
-    false)), (String ((Ascii (false, false, true, false, false, true, true,
-    false)), (String ((Ascii (true, false, true, false, false, true, true,
-    false)), (String ((Ascii (false, true, true, true, false, true, true,
-    false)), (String ((Ascii (false, false, true, false, false, true, true,
-    false)), (String ((Ascii (true, false, false, false, false, true, true,
-    false)), (String ((Ascii (true, false, false, false, true, true, false,
-    false)), (String ((Ascii (false, false, false, false, true, true, false,
-    false)), EmptyString)))))))))))))))))); l_ix = IRune; l_segs = ((SLit
-    ((Npos (XI (XI (XI (XO (XI XH)))))) :: [])) :: ((SRaw (String ((Ascii
-    (false, false, true, false, true, false, true, false)), (String ((Ascii
-    (true, false, false, true, true, true, true, false)), (String ((Ascii
-    (false, false, false, false, true, true, true, false)), (String ((Ascii
-    (true, false, true, false, false, true, true, false)), (String ((Ascii
-    (true, true, false, false, false, false, true, false)), (String ((Ascii
-    (true, true, true, true, false, true, true, false)), (String ((Ascii
-    (false, false, true, false, false, true, true, false)), (String ((Ascii
-    (true, false, true, false, false, true, true, false)),
-    EmptyString))))))))))))))))) :: ((SRaw (String ((Ascii (false, false,
-    true, false, true, false, true, false)), (String ((Ascii (false, true,
-    false, false, true, true, true, false)), (String ((Ascii (true, false,
-    false, false, false, true, true, false)), (String ((Ascii (false, true,
-    true, true, false, true, true, false)), (String ((Ascii (true, true,
-    false, false, true, true, true, false)), (String ((Ascii (true, false,
-    false, false, false, true, true, false)), (String ((Ascii (true, true,
-    false, false, false, true, true, false)), (String ((Ascii (false, false,
-    true, false, true, true, true, false)), (String ((Ascii (true, false,
-    false, true, false, true, true, false)), (String ((Ascii (true, true,
-    true, true, false, true, true, false)), (String ((Ascii (false, true,
-    true, true, false, true, true, false)), (String ((Ascii (false, false,
-    true, false, true, false, true, false)), (String ((Ascii (true, false,
-    false, true, true, true, true, false)), (String ((Ascii (false, false,
-    false, false, true, true, true, false)), (String ((Ascii (true, false,
-    true, false, false, true, true, false)), (String ((Ascii (true, true,
-    false, false, false, false, true, false)), (String ((Ascii (true, true,
-    true, true, false, true, true, false)), (String ((Ascii (false, false,
-    true, false, false, true, true, false)), (String ((Ascii (true, false,
-    true, false, false, true, true, false)),
-    EmptyString))))))))))))))))))))))))))))))))))))))) :: ((SNum ((String
-    ((Ascii (false, true, true, false, false, false, true, false)), (String
-    ((Ascii (true, true, true, true, false, true, true, false)), (String
-    ((Ascii (false, true, false, false, true, true, true, false)), (String
-    ((Ascii (true, false, true, false, false, true, true, false)), (String
-    ((Ascii (true, false, false, true, false, true, true, false)), (String
-    ((Ascii (true, true, true, false, false, true, true, false)), (String
-    ((Ascii (false, true, true, true, false, true, true, false)), (String
-    ((Ascii (false, false, false, false, true, false, true, false)), (String
-    ((Ascii (true, false, false, false, false, true, true, false)), (String
-    ((Ascii (true, false, false, true, true, true, true, false)), (String
-    ((Ascii (true, false, true, true, false, true, true, false)), (String
-    ((Ascii (true, false, true, false, false, true, true, false)), (String
-    ((Ascii (false, true, true, true, false, true, true, false)), (String
-    ((Ascii (false, false, true, false, true, true, true, false)), (String
-    ((Ascii (true, false, false, false, false, false, true, false)), (String
-    ((Ascii (true, false, true, true, false, true, true, false)), (String
-    ((Ascii (true, true, true, true, false, true, true, false)), (String
-    ((Ascii (true, false, true, false, true, true, true, false)), (String
-    ((Ascii (false, true, true, true, false, true, true, false)), (String
-    ((Ascii (false, false, true, false, true, true, true, false)),
-    EmptyString)))))))))))))))))))))))))))))))))))))))), (S (S (S (S (S (S (S
-    (S (S (S (S (S (S (S (S (S (S (S O)))))))))))))))))))) :: ((SAlpha
-    ((String ((Ascii (false, true, true, false, false, false, true, false)),
-    (String ((Ascii (true, true, true, true, false, true, true, false)),
-    (String ((Ascii (false, true, false, false, true, true, true, false)),
-    (String ((Ascii (true, false, true, false, false, true, true, false)),
-    (String ((Ascii (true, false, false, true, false, true, true, false)),
-    (String ((Ascii (true, true, true, false, false, true, true, false)),
-    (String ((Ascii (false, true, true, true, false, true, true, false)),
-    (String ((Ascii (false, false, true, false, true, false, true, false)),
-    (String ((Ascii (false, true, false, false, true, true, true, false)),
-    (String ((Ascii (true, false, false, false, false, true, true, false)),
-    (String ((Ascii (true, true, false, false, false, true, true, false)),
-    (String ((Ascii (true, false, true, false, false, true, true, false)),
-    (String ((Ascii (false, true, true, true, false, false, true, false)),
-    (String ((Ascii (true, false, true, false, true, true, true, false)),
-    (String ((Ascii (true, false, true, true, false, true, true, false)),
-    (String ((Ascii (false, true, false, false, false, true, true, false)),
-    (String ((Ascii (true, false, true, false, false, true, true, false)),
-    (String ((Ascii (false, true, false, false, true, true, true, false)),
-    EmptyString)))))))))))))))))))))))))))))))))))), (S (S (S (S (S (S (S (S
-    (S (S (S (S (S (S (S (S (S (S (S (S (S (S
-    O)))))))))))))))))))))))) :: ((SAlpha ((String ((Ascii (false, true,
-    true, true, false, false, true, false)), (String ((Ascii (true, false,
-    false, false, false, true, true, false)), (String ((Ascii (true, false,
-    true, true, false, true, true, false)), (String ((Ascii (true, false,
-    true, false, false, true, true, false)), EmptyString)))))))), (S (S (S (S
-    (S (S (S (S (S (S (S (S (S (S (S (S (S (S (S (S (S (S (S (S (S (S (S (S
-    (S (S (S (S (S (S (S O))))))))))))))))))))))))))))))))))))) :: ((SLit
-    ((Npos (XO (XO (XO (XO (XO XH)))))) :: ((Npos (XO (XO (XO (XO (XO
-    XH)))))) :: ((Npos (XO (XO (XO (XO (XO XH)))))) :: ((Npos (XO (XO (XO (XO
-    (XO XH)))))) :: ((Npos (XO (XO (XO (XO (XO XH)))))) :: ((Npos (XO (XO (XO
-    (XO (XO XH)))))) :: []))))))) :: ((SNum ((String ((Ascii (true, false,
-    true, false, false, false, true, false)), (String ((Ascii (false, true,
-    true, true, false, true, true, false)), (String ((Ascii (false, false,
-    true, false, true, true, true, false)), (String ((Ascii (false, true,
-    false, false, true, true, true, false)), (String ((Ascii (true, false,
-    false, true, true, true, true, false)), (String ((Ascii (false, false,
-    true, false, false, false, true, false)), (String ((Ascii (true, false,
-    true, false, false, true, true, false)), (String ((Ascii (false, false,
-    true, false, true, true, true, false)), (String ((Ascii (true, false,
-    false, false, false, true, true, false)), (String ((Ascii (true, false,
-    false, true, false, true, true, false)), (String ((Ascii (false, false,
-    true, true, false, true, true, false)), (String ((Ascii (true, true,
-    false, false, true, false, true, false)), (String ((Ascii (true, false,
-    true, false, false, true, true, false)), (String ((Ascii (true, false,
-    false, false, true, true, true, false)), (String ((Ascii (true, false,
-    true, false, true, true, true, false)), (String ((Ascii (true, false,
-    true, false, false, true, true, false)), (String ((Ascii (false, true,
-    true, true, false, true, true, false)), (String ((Ascii (true, true,
-    false, false, false, true, true, false)), (String ((Ascii (true, false,
-    true, false, false, true, true, false)), (String ((Ascii (false, true,
-    true, true, false, false, true, false)), (String ((Ascii (true, false,
-    true, false, true, true, true, false)), (String ((Ascii (true, false,
-    true, true, false, true, true, false)), (String ((Ascii (false, true,
-    false, false, false, true, true, false)), (String ((Ascii (true, false,
-    true, false, false, true, true, false)), (String ((Ascii (false, true,
-    false, false, true, true, true, false)),
-    EmptyString)))))))))))))))))))))))))))))))))))))))))))))))))), (S (S (S
-    (S (S (S (S O))))))))) :: [])))))))); l_cuts =
-    ((mkcut O (S O) EmptyString []) :: ((mkcut (S O) (S (S (S O))) (String
-                                          ((Ascii (false, false, true, false,
-                                          true, false, true, false)), (String
-                                          ((Ascii (true, false, false, true,
-                                          true, true, true, false)), (String
-                                          ((Ascii (false, false, false,
-                                          false, true, true, true, false)),
-                                          (String ((Ascii (true, false, true,
-                                          false, false, true, true, false)),
-                                          (String ((Ascii (true, true, false,
-                                          false, false, false, true, false)),
-                                          (String ((Ascii (true, true, true,
-                                          true, false, true, true, false)),
-                                          (String ((Ascii (false, false,
-                                          true, false, false, true, true,
-                                          false)), (String ((Ascii (true,
-                                          false, true, false, false, true,
-                                          true, false)),
-                                          EmptyString)))))))))))))))) []) :: (
-    (mkcut (S (S (S O))) (S (S (S (S (S (S O)))))) (String ((Ascii (false,
-      false, true, false, true, false, true, false)), (String ((Ascii (false,
-      true, false, false, true, true, true, false)), (String ((Ascii (true,
-      false, false, false, false, true, true, false)), (String ((Ascii
-      (false, true, true, true, false, true, true, false)), (String ((Ascii
-      (true, true, false, false, true, true, true, false)), (String ((Ascii
-      (true, false, false, false, false, true, true, false)), (String ((Ascii
-      (true, true, false, false, false, true, true, false)), (String ((Ascii
-      (false, false, true, false, true, true, true, false)), (String ((Ascii
-      (true, false, false, true, false, true, true, false)), (String ((Ascii
-      (true, true, true, true, false, true, true, false)), (String ((Ascii
-      (false, true, true, true, false, true, true, false)), (String ((Ascii
-      (false, false, true, false, true, false, true, false)), (String ((Ascii
-      (true, false, false, true, true, true, true, false)), (String ((Ascii
-      (false, false, false, false, true, true, true, false)), (String ((Ascii
-      (true, false, true, false, false, true, true, false)), (String ((Ascii
-      (true, true, false, false, false, false, true, false)), (String ((Ascii
-      (true, true, true, true, false, true, true, false)), (String ((Ascii
-      (false, false, true, false, false, true, true, false)), (String ((Ascii
-      (true, false, true, false, false, true, true, false)),
-      EmptyString)))))))))))))))))))))))))))))))))))))) []) :: ((mkcut (S (S
-                                                                  (S (S (S (S
-                                                                  O)))))) (S
-                                                                  (S (S (S (S
-                                                                  (S (S (S (S
-                                                                  (S (S (S (S
-                                                                  (S (S (S (S
-                                                                  (S (S (S (S
-                                                                  (S (S (S
-                                                                  O))))))))))))))))))))))))
-                                                                  (String
-                                                                  ((Ascii
-                                                                  (false,
-                                                                  true, true,
-                                                                  false,
-                                                                  false,
-                                                                  false,
-                                                                  true,
-                                                                  false)),
-                                                                  (String
-                                                                  ((Ascii
-                                                                  (true,
-                                                                  true, true,
-                                                                  true,
-                                                                  false,
-                                                                  true, true,
-                                                                  false)),
-                                                                  (String
-                                                                  ((Ascii
-                                                                  (false,
-                                                                  true,
-                                                                  false,
-                                                                  false,
-                                                                  true, true,
-                                                                  true,
-                                                                  false)),
-                                                                  (String
-                                                                  ((Ascii
-                                                                  (true,
-                                                                  false,
-                                                                  true,
-                                                                  false,
-                                                                  false,
-                                                                  true, true,
-                                                                  false)),
-                                                                  (String
-                                                                  ((Ascii
-                                                                  (true,
-                                                                  false,
-                                                                  false,
-                                                                  true,
-                                                                  false,
-                                                                  true, true,
-                                                                  false)),
-                                                                  (String
-                                                                  ((Ascii
-                                                                  (true,
-                                                                  true, true,
-                                                                  false,
-                                                                  false,
-                                                                  true, true,
-                                                                  false)),
-                                                                  (String
-                                                                  ((Ascii
-                                                                  (false,
-                                                                  true, true,
-                                                                  true,
-                                                                  false,
-                                                                  true, true,
-                                                                  false)),
-                                                                  (String
-                                                                  ((Ascii
-                                                                  (false,
-                                                                  false,
-                                                                  false,
-                                                                  false,
-                                                                  true,
-                                                                  false,
-                                                                  true,
-                                                                  false)),
-                                                                  (String
-                                                                  ((Ascii
-                                                                  (true,
-                                                                  false,
-                                                                  false,
-                                                                  false,
-                                                                  false,
-                                                                  true, true,
-                                                                  false)),
-                                                                  (String
-                                                                  ((Ascii
-                                                                  (true,
-                                                                  false,
-                                                                  false,
-                                                                  true, true,
-                                                                  true, true,
-                                                                  false)),
-                                                                  (String
-                                                                  ((Ascii
-                                                                  (true,
-                                                                  false,
-                                                                  true, true,
-                                                                  false,
-                                                                  true, true,
-                                                                  false)),
-                                                                  (String
-                                                                  ((Ascii
-                                                                  (true,
-                                                                  false,
-                                                                  true,
-                                                                  false,
-                                                                  false,
-                                                                  true, true,
-                                                                  false)),
-                                                                  (String
-                                                                  ((Ascii
-                                                                  (false,
-                                                                  true, true,
-                                                                  true,
-                                                                  false,
-                                                                  true, true,
-                                                                  false)),
-                                                                  (String
-                                                                  ((Ascii
-                                                                  (false,
-                                                                  false,
-                                                                  true,
-                                                                  false,
-                                                                  true, true,
-                                                                  true,
-                                                                  false)),
-                                                                  (String
-                                                                  ((Ascii
-                                                                  (true,
-                                                                  false,
-                                                                  false,
-                                                                  false,
-                                                                  false,
-                                                                  false,
-                                                                  true,
-                                                                  false)),
-                                                                  (String
-                                                                  ((Ascii
-                                                                  (true,
-                                                                  false,
-                                                                  true, true,
-                                                                  false,
-                                                                  true, true,
-                                                                  false)),
-                                                                  (String
-                                                                  ((Ascii
-                                                                  (true,
-                                                                  true, true,
-                                                                  true,
-                                                                  false,
-                                                                  true, true,
-                                                                  false)),
-                                                                  (String
-                                                                  ((Ascii
-                                                                  (true,
-                                                                  false,
-                                                                  true,
-                                                                  false,
-                                                                  true, true,
-                                                                  true,
-                                                                  false)),
-                                                                  (String
-                                                                  ((Ascii
-                                                                  (false,
-                                                                  true, true,
-                                                                  true,
-                                                                  false,
-                                                                  true, true,
-                                                                  false)),
-                                                                  (String
-                                                                  ((Ascii
-                                                                  (false,
-                                                                  false,
-                                                                  true,
-                                                                  false,
-                                                                  true, true,
-                                                                  true,
-                                                                  false)),
-                                                                  EmptyString))))))))))))))))))))))))))))))))))))))))
-                                                                  ((String
-                                                                  ((Ascii
-                                                                  (false,
-                                                                  false,
-                                                                  false,
-                                                                  false,
-                                                                  true, true,
-                                                                  true,
-                                                                  false)),
-                                                                  (String
-                                                                  ((Ascii
-                                                                  (true,
-                                                                  false,
-                                                                  false,
-                                                                  false,
-                                                                  false,
-                                                                  true, true,
-                                                                  false)),
-                                                                  (String
-                                                                  ((Ascii
-                                                                  (false,
-                                                                  true,
-                                                                  false,
-                                                                  false,
-                                                                  true, true,
-                                                                  true,
-                                                                  false)),
-                                                                  (String
-                                                                  ((Ascii
-                                                                  (true,
-                                                                  true,
-                                                                  false,
-                                                                  false,
-                                                                  true, true,
-                                                                  true,
-                                                                  false)),
-                                                                  (String
-                                                                  ((Ascii
-                                                                  (true,
-                                                                  false,
-                                                                  true,
-                                                                  false,
-                                                                  false,
-                                                                  true, true,
-                                                                  false)),
-                                                                  (String
-                                                                  ((Ascii
-                                                                  (false,
-                                                                  true, true,
-                                                                  true,
-                                                                  false,
-                                                                  false,
-                                                                  true,
-                                                                  false)),
-                                                                  (String
-                                                                  ((Ascii
-                                                                  (true,
-                                                                  false,
-                                                                  true,
-                                                                  false,
-                                                                  true, true,
-                                                                  true,
-                                                                  false)),
-                                                                  (String
-                                                                  ((Ascii
-                                                                  (true,
-                                                                  false,
-                                                                  true, true,
-                                                                  false,
-                                                                  true, true,
-                                                                  false)),
-                                                                  (String
-                                                                  ((Ascii
-                                                                  (false,
-                                                                  true, true,
-                                                                  false,
-                                                                  false,
-                                                                  false,
-                                                                  true,
-                                                                  false)),
-                                                                  (String
-                                                                  ((Ascii
-                                                                  (true,
-                                                                  false,
-                                                                  false,
-                                                                  true,
-                                                                  false,
-                                                                  true, true,
-                                                                  false)),
-                                                                  (String
-                                                                  ((Ascii
-                                                                  (true,
-                                                                  false,
-                                                                  true,
-                                                                  false,
-                                                                  false,
-                                                                  true, true,
-                                                                  false)),
-                                                                  (String
-                                                                  ((Ascii
-                                                                  (false,
-                                                                  false,
-                                                                  true, true,
-                                                                  false,
-                                                                  true, true,
-                                                                  false)),
-                                                                  (String
-                                                                  ((Ascii
-                                                                  (false,
-                                                                  false,
-                                                                  true,
-                                                                  false,
-                                                                  false,
-                                                                  true, true,
-                                                                  false)),
-                                                                  EmptyString)))))))))))))))))))))))))) :: [])) :: (
-    (mkcut (S (S (S (S (S (S (S (S (S (S (S (S (S (S (S (S (S (S (S (S (S (S
-      (S (S O)))))))))))))))))))))))) (S (S (S (S (S (S (S (S (S (S (S (S (S
-      (S (S (S (S (S (S (S (S (S (S (S (S (S (S (S (S (S (S (S (S (S (S (S (S
-      (S (S (S (S (S (S (S (S (S
-      O)))))))))))))))))))))))))))))))))))))))))))))) (String ((Ascii (false,
-      true, true, false, false, false, true, false)), (String ((Ascii (true,
-      true, true, true, false, true, true, false)), (String ((Ascii (false,
-      true, false, false, true, true, true, false)), (String ((Ascii (true,
-      false, true, false, false, true, true, false)), (String ((Ascii (true,
-      false, false, true, false, true, true, false)), (String ((Ascii (true,
-      true, true, false, false, true, true, false)), (String ((Ascii (false,
-      true, true, true, false, true, true, false)), (String ((Ascii (false,
-      false, true, false, true, false, true, false)), (String ((Ascii (false,
-      true, false, false, true, true, true, false)), (String ((Ascii (true,
-      false, false, false, false, true, true, false)), (String ((Ascii (true,
-      true, false, false, false, true, true, false)), (String ((Ascii (true,
-      false, true, false, false, true, true, false)), (String ((Ascii (false,
-      true, true, true, false, false, true, false)), (String ((Ascii (true,
-      false, true, false, true, true, true, false)), (String ((Ascii (true,
-      false, true, true, false, true, true, false)), (String ((Ascii (false,
-      true, false, false, false, true, true, false)), (String ((Ascii (true,
-      false, true, false, false, true, true, false)), (String ((Ascii (false,
-      true, false, false, true, true, true, false)),
-      EmptyString)))))))))))))))))))))))))))))))))))) ((String ((Ascii (true,
-      true, false, false, true, true, true, false)), (String ((Ascii (false,
-      false, true, false, true, true, true, false)), (String ((Ascii (false,
-      true, false, false, true, true, true, false)), (String ((Ascii (true,
-      false, false, true, false, true, true, false)), (String ((Ascii (false,
-      true, true, true, false, true, true, false)), (String ((Ascii (true,
-      true, true, false, false, true, true, false)), (String ((Ascii (true,
-      true, false, false, true, true, true, false)), (String ((Ascii (false,
-      true, true, true, false, true, false, false)), (String ((Ascii (false,
-      false, true, false, true, false, true, false)), (String ((Ascii (false,
-      true, false, false, true, true, true, false)), (String ((Ascii (true,
-      false, false, true, false, true, true, false)), (String ((Ascii (true,
-      false, true, true, false, true, true, false)), (String ((Ascii (true,
-      true, false, false, true, false, true, false)), (String ((Ascii (false,
-      false, false, false, true, true, true, false)), (String ((Ascii (true,
-      false, false, false, false, true, true, false)), (String ((Ascii (true,
-      true, false, false, false, true, true, false)), (String ((Ascii (true,
-      false, true, false, false, true, true, false)),
-      EmptyString)))))))))))))))))))))))))))))))))) :: [])) :: ((mkcut (S (S
-                                                                  (S (S (S (S
-                                                                  (S (S (S (S
-                                                                  (S (S (S (S
-                                                                  (S (S (S (S
-                                                                  (S (S (S (S
-                                                                  (S (S (S (S
-                                                                  (S (S (S (S
-                                                                  (S (S (S (S
-                                                                  (S (S (S (S
-                                                                  (S (S (S (S
-                                                                  (S (S (S (S
-                                                                  O))))))))))))))))))))))))))))))))))))))))))))))
-                                                                  (S (S (S (S
-                                                                  (S (S (S (S
-                                                                  (S (S (S (S
-                                                                  (S (S (S (S
-                                                                  (S (S (S (S
-                                                                  (S (S (S (S
-                                                                  (S (S (S (S
-                                                                  (S (S (S (S
-                                                                  (S (S (S (S
-                                                                  (S (S (S (S
-                                                                  (S (S (S (S
-                                                                  (S (S (S (S
-                                                                  (S (S (S (S
-                                                                  (S (S (S (S
-                                                                  (S (S (S (S
-                                                                  (S (S (S (S
-                                                                  (S (S (S (S
-                                                                  (S (S (S (S
-                                                                  (S (S (S (S
-                                                                  (S (S (S (S
-                                                                  (S
-                                                                  O)))))))))))))))))))))))))))))))))))))))))))))))))))))))))))))))))))))))))))))))))
-                                                                  (String
-                                                                  ((Ascii
-                                                                  (false,
-                                                                  true, true,
-                                                                  true,
-                                                                  false,
-                                                                  false,
-                                                                  true,
-                                                                  false)),
-                                                                  (String
-                                                                  ((Ascii
-                                                                  (true,
-                                                                  false,
-                                                                  false,
-                                                                  false,
-                                                                  false,
-                                                                  true, true,
-                                                                  false)),
-                                                                  (String
-                                                                  ((Ascii
-                                                                  (true,
-                                                                  false,
-                                                                  true, true,
-                                                                  false,
-                                                                  true, true,
-                                                                  false)),
-                                                                  (String
-                                                                  ((Ascii
-                                                                  (true,
-                                                                  false,
-                                                                  true,
-                                                                  false,
-                                                                  false,
-                                                                  true, true,
-                                                                  false)),
-                                                                  EmptyString))))))))
-                                                                  ((String
-                                                                  ((Ascii
-                                                                  (true,
-                                                                  true,
-                                                                  false,
-                                                                  false,
-                                                                  true, true,
-                                                                  true,
-                                                                  false)),
-                                                                  (String
-                                                                  ((Ascii
-                                                                  (false,
-                                                                  false,
-                                                                  true,
-                                                                  false,
-                                                                  true, true,
-                                                                  true,
-                                                                  false)),
-                                                                  (String
-                                                                  ((Ascii
-                                                                  (false,
-                                                                  true,
-                                                                  false,
-                                                                  false,
-                                                                  true, true,
-                                                                  true,
-                                                                  false)),
-                                                                  (String
-                                                                  ((Ascii
-                                                                  (true,
-                                                                  false,
-                                                                  false,
-                                                                  true,
-                                                                  false,
-                                                                  true, true,
-                                                                  false)),
-                                                                  (String
-                                                                  ((Ascii
-                                                                  (false,
-                                                                  true, true,
-                                                                  true,
-                                                                  false,
-                                                                  true, true,
-                                                                  false)),
-                                                                  (String
-                                                                  ((Ascii
-                                                                  (true,
-                                                                  true, true,
-                                                                  false,
-                                                                  false,
-                                                                  true, true,
-                                                                  false)),
-                                                                  (String
-                                                                  ((Ascii
-                                                                  (true,
-                                                                  true,
-                                                                  false,
-                                                                  false,
-                                                                  true, true,
-                                                                  true,
-                                                                  false)),
-                                                                  (String
-                                                                  ((Ascii
-                                                                  (false,
-                                                                  true, true,
-                                                                  true,
-                                                                  false,
-                                                                  true,
-                                                                  false,
-                                                                  false)),
-                                                                  (String
-                                                                  ((Ascii
-                                                                  (false,
-                                                                  false,
-                                                                  true,
-                                                                  false,
-                                                                  true,
-                                                                  false,
-                                                                  true,
-                                                                  false)),
-                                                                  (String
-                                                                  ((Ascii
-                                                                  (false,
-                                                                  true,
-                                                                  false,
-                                                                  false,
-                                                                  true, true,
-                                                                  true,
-                                                                  false)),
-                                                                  (String
-                                                                  ((Ascii
-                                                                  (true,
-                                                                  false,
-                                                                  false,
-                                                                  true,
-                                                                  false,
-                                                                  true, true,
-                                                                  false)),
-                                                                  (String
-                                                                  ((Ascii
-                                                                  (true,
-                                                                  false,
-                                                                  true, true,
-                                                                  false,
-                                                                  true, true,
-                                                                  false)),
-                                                                  (String
-                                                                  ((Ascii
-                                                                  (true,
-                                                                  true,
-                                                                  false,
-                                                                  false,
-                                                                  true,
-                                                                  false,
-                                                                  true,
-                                                                  false)),
-                                                                  (String
-                                                                  ((Ascii
-                                                                  (false,
-                                                                  false,
-                                                                  false,
-                                                                  false,
-                                                                  true, true,
-                                                                  true,
-                                                                  false)),
-                                                                  (String
-                                                                  ((Ascii
-                                                                  (true,
-                                                                  false,
-                                                                  false,
-                                                                  false,
-                                                                  false,
-                                                                  true, true,
-                                                                  false)),
-                                                                  (String
-                                                                  ((Ascii
-                                                                  (true,
-                                                                  true,
-                                                                  false,
-                                                                  false,
-                                                                  false,
-                                                                  true, true,
-                                                                  false)),
-                                                                  (String
-                                                                  ((Ascii
-                                                                  (true,
-                                                                  false,
-                                                                  true,
-                                                                  false,
-                                                                  false,
-                                                                  true, true,
-                                                                  false)),
-                                                                  EmptyString)))))))))))))))))))))))))))))))))) :: [])) :: (
-    (mkcut (S (S (S (S (S (S (S (S (S (S (S (S (S (S (S (S (S (S (S (S (S (S
-      (S (S (S (S (S (S (S (S (S (S (S (S (S (S (S (S (S (S (S (S (S (S (S (S
-      (S (S (S (S (S (S (S (S (S (S (S (S (S (S (S (S (S (S (S (S (S (S (S (S
-      (S (S (S (S (S (S (S (S (S (S (S
-      O)))))))))))))))))))))))))))))))))))))))))))))))))))))))))))))))))))))))))))))))))
-      (S (S (S (S (S (S (S (S (S (S (S (S (S (S (S (S (S (S (S (S (S (S (S (S
-      (S (S (S (S (S (S (S (S (S (S (S (S (S (S (S (S (S (S (S (S (S (S (S (S
-      (S (S (S (S (S (S (S (S (S (S (S (S (S (S (S (S (S (S (S (S (S (S (S (S
-      (S (S (S (S (S (S (S (S (S (S (S (S (S (S (S
-      O)))))))))))))))))))))))))))))))))))))))))))))))))))))))))))))))))))))))))))))))))))))))
-      EmptyString []) :: ((mkcut (S (S (S (S (S (S (S (S (S (S (S (S (S (S (S
-                            (S (S (S (S (S (S (S (S (S (S (S (S (S (S (S (S
-                            (S (S (S (S (S (S (S (S (S (S (S (S (S (S (S (S
-                            (S (S (S (S (S (S (S (S (S (S (S (S (S (S (S (S
-                            (S (S (S (S (S (S (S (S (S (S (S (S (S (S (S (S
-                            (S (S (S (S (S (S (S (S
-                            O)))))))))))))))))))))))))))))))))))))))))))))))))))))))))))))))))))))))))))))))))))))))
-                            (S (S (S (S (S (S (S (S (S (S (S (S (S (S (S (S
-                            (S (S (S (S (S (S (S (S (S (S (S (S (S (S (S (S
-                            (S (S (S (S (S (S (S (S (S (S (S (S (S (S (S (S
-                            (S (S (S (S (S (S (S (S (S (S (S (S (S (S (S (S
-                            (S (S (S (S (S (S (S (S (S (S (S (S (S (S (S (S
-                            (S (S (S (S (S (S (S (S (S (S (S (S (S (S
-                            O))))))))))))))))))))))))))))))))))))))))))))))))))))))))))))))))))))))))))))))))))))))))))))))
-                            (String ((Ascii (true, false, true, false, false,
-                            false, true, false)), (String ((Ascii (false,
-                            true, true, true, false, true, true, false)),
-                            (String ((Ascii (false, false, true, false, true,
-                            true, true, false)), (String ((Ascii (false,
-                            true, false, false, true, true, true, false)),
-                            (String ((Ascii (true, false, false, true, true,
-                            true, true, false)), (String ((Ascii (false,
-                            false, true, false, false, false, true, false)),
-                            (String ((Ascii (true, false, true, false, false,
-                            true, true, false)), (String ((Ascii (false,
-                            false, true, false, true, true, true, false)),
-                            (String ((Ascii (true, false, false, false,
-                            false, true, true, false)), (String ((Ascii
-                            (true, false, false, true, false, true, true,
-                            false)), (String ((Ascii (false, false, true,
-                            true, false, true, true, false)), (String ((Ascii
-                            (true, true, false, false, true, false, true,
-                            false)), (String ((Ascii (true, false, true,
-                            false, false, true, true, false)), (String
-                            ((Ascii (true, false, false, false, true, true,
-                            true, false)), (String ((Ascii (true, false,
-                            true, false, true, true, true, false)), (String
-                            ((Ascii (true, false, true, false, false, true,
-                            true, false)), (String ((Ascii (false, true,
-                            true, true, false, true, true, false)), (String
-                            ((Ascii (true, true, false, false, false, true,
-                            true, false)), (String ((Ascii (true, false,
-                            true, false, false, true, true, false)), (String
-                            ((Ascii (false, true, true, true, false, false,
-                            true, false)), (String ((Ascii (true, false,
-                            true, false, true, true, true, false)), (String
-                            ((Ascii (true, false, true, true, false, true,
-                            true, false)), (String ((Ascii (false, true,
-                            false, false, false, true, true, false)), (String
-                            ((Ascii (true, false, true, false, false, true,
-                            true, false)), (String ((Ascii (false, true,
-                            false, false, true, true, true, false)),
-                            EmptyString))))))))))))))))))))))))))))))))))))))))))))))))))
-                            ((String ((Ascii (false, false, false, false,
-                            true, true, true, false)), (String ((Ascii (true,
-                            false, false, false, false, true, true, false)),
-                            (String ((Ascii (false, true, false, false, true,
-                            true, true, false)), (String ((Ascii (true, true,
-                            false, false, true, true, true, false)), (String
-                            ((Ascii (true, false, true, false, false, true,
-                            true, false)), (String ((Ascii (false, true,
-                            true, true, false, false, true, false)), (String
-                            ((Ascii (true, false, true, false, true, true,
-                            true, false)), (String ((Ascii (true, false,
-                            true, true, false, true, true, false)), (String
-                            ((Ascii (false, true, true, false, false, false,
-                            true, false)), (String ((Ascii (true, false,
-                            false, true, false, true, true, false)), (String
-                            ((Ascii (true, false, true, false, false, true,
-                            true, false)), (String ((Ascii (false, false,
-                            true, true, false, true, true, false)), (String
-                            ((Ascii (false, false, true, false, false, true,
-                            true, false)),
-                            EmptyString)))))))))))))))))))))))))) :: [])) :: [])))))))) }
-
-(** val l_Addenda11 : layout **)
-
-let l_Addenda11 =
-  { l_name = (String ((Ascii (true, false, false, false, false, false, true,
-    false)), (String ((Ascii (false, false, true, false, false, true, true,
-    false)), (String ((Ascii (false, false, true, false, false, true, true,
-    false)), (String ((Ascii (true, false, true, false, false, true, true,
-    false)), (String ((Ascii (false, true, true, true, false, true, true,
-    false)), (String ((Ascii (false, false, true, false, false, true, true,
-    false)), (String ((Ascii (true, false, false, false, false, true, true,
-    false)), (String ((Ascii (true, false, false, false, true, true, false,
-    false)), (String ((Ascii (true, false, false, false, true, true, false,
-    false)), EmptyString)))))))))))))))))); l_ix = IRune; l_segs = ((SLit
-    ((Npos (XI (XI (XI (XO (XI XH)))))) :: [])) :: ((SRaw (String ((Ascii
-    (false, false, true, false, true, false, true, false)), (String ((Ascii
-    (true, false, false, true, true, true, true, false)), (String ((Ascii
-    (false, false, false, false, true, true, true, false)), (String ((Ascii
-    (true, false, true, false, false, true, true, false)), (String ((Ascii
-    (true, true, false, false, false, false, true, false)), (String ((Ascii
-    (true, true, true, true, false, true, true, false)), (String ((Ascii
-    (false, false, true, false, false, true, true, false)), (String ((Ascii
-    (true, false, true, false, false, true, true, false)),
-    EmptyString))))))))))))))))) :: ((SAlpha ((String ((Ascii (true, true,
-    true, true, false, false, true, false)), (String ((Ascii (false, true,
-    false, false, true, true, true, false)), (String ((Ascii (true, false,
-    false, true, false, true, true, false)), (String ((Ascii (true, true,
-    true, false, false, true, true, false)), (String ((Ascii (true, false,
-    false, true, false, true, true, false)), (String ((Ascii (false, true,
-    true, true, false, true, true, false)), (String ((Ascii (true, false,
-    false, false, false, true, true, false)), (String ((Ascii (false, false,
-    true, false, true, true, true, false)), (String ((Ascii (true, true,
-    true, true, false, true, true, false)), (String ((Ascii (false, true,
-    false, false, true, true, true, false)), (String ((Ascii (false, true,
-    true, true, false, false, true, false)), (String ((Ascii (true, false,
-    false, false, false, true, true, false)), (String ((Ascii (true, false,
-    true, true, false, true, true, false)), (String ((Ascii (true, false,
-    true, false, false, true, true, false)),
-    EmptyString)))))))))))))))))))))))))))), (S (S (S (S (S (S (S (S (S (S (S
-    (S (S (S (S (S (S (S (S (S (S (S (S (S (S (S (S (S (S (S (S (S (S (S (S
-    O))))))))))))))))))))))))))))))))))))) :: ((SAlpha ((String ((Ascii
-    (true, true, true, true, false, false, true, false)), (String ((Ascii
-    (false, true, false, false, true, true, true, false)), (String ((Ascii
-    (true, false, false, true, false, true, true, false)), (String ((Ascii
-    (true, true, true, false, false, true, true, false)), (String ((Ascii
-    (true, false, false, true, false, true, true, false)), (String ((Ascii
-    (false, true, true, true, false, true, true, false)), (String ((Ascii
-    (true, false, false, false, false, true, true, false)), (String ((Ascii
-    (false, false, true, false, true, true, true, false)), (String ((Ascii
-    (true, true, true, true, false, true, true, false)), (String ((Ascii
-    (false, true, false, false, true, true, true, false)), (String ((Ascii
-    (true, true, false, false, true, false, true, false)), (String ((Ascii
-    (false, false, true, false, true, true, true, false)), (String ((Ascii
-    (false, true, false, false, true, true, true, false)), (String ((Ascii
-    (true, false, true, false, false, true, true, false)), (String ((Ascii
-    (true, false, true, false, false, true, true, false)), (String ((Ascii
-    (false, false, true, false, true, true, true, false)), (String ((Ascii
-    (true, false, false, false, false, false, true, false)), (String ((Ascii
-    (false, false, true, false, false, true, true, false)), (String ((Ascii
-    (false, false, true, false, false, true, true, false)), (String ((Ascii
-    (false, true, false, false, true, true, true, false)), (String ((Ascii
-    (true, false, true, false, false, true, true, false)), (String ((Ascii
-    (true, true, false, false, true, true, true, false)), (String ((Ascii
-    (true, true, false, false, true, true, true, false)),
-    EmptyString)))))))))))))))))))))))))))))))))))))))))))))), (S (S (S (S (S
-    (S (S (S (S (S (S (S (S (S (S (S (S (S (S (S (S (S (S (S (S (S (S (S (S
-    (S (S (S (S (S (S O))))))))))))))))))))))))))))))))))))) :: ((SLit ((Npos
-    (XO (XO (XO (XO (XO XH)))))) :: ((Npos (XO (XO (XO (XO (XO
-    XH)))))) :: ((Npos (XO (XO (XO (XO (XO XH)))))) :: ((Npos (XO (XO (XO (XO
-    (XO XH)))))) :: ((Npos (XO (XO (XO (XO (XO XH)))))) :: ((Npos (XO (XO (XO
-    (XO (XO XH)))))) :: ((Npos (XO (XO (XO (XO (XO XH)))))) :: ((Npos (XO (XO
-    (XO (XO (XO XH)))))) :: ((Npos (XO (XO (XO (XO (XO XH)))))) :: ((Npos (XO
-    (XO (XO (XO (XO XH)))))) :: ((Npos (XO (XO (XO (XO (XO XH)))))) :: ((Npos
-    (XO (XO (XO (XO (XO XH)))))) :: ((Npos (XO (XO (XO (XO (XO
-    XH)))))) :: ((Npos (XO (XO (XO (XO (XO
-    XH)))))) :: []))))))))))))))) :: ((SNum ((String ((Ascii (true, false,
-    true, false, false, false, true, false)), (String ((Ascii (false, true,
-    true, true, false, true, true, false)), (String ((Ascii (false, false,
-    true, false, true, true, true, false)), (String ((Ascii (false, true,
-    false, false, true, true, true, false)), (String ((Ascii (true, false,
-    false, true, true, true, true, false)), (String ((Ascii (false, false,
-    true, false, false, false, true, false)), (String ((Ascii (true, false,
-    true, false, false, true, true, false)), (String ((Ascii (false, false,
-    true, false, true, true, true, false)), (String ((Ascii (true, false,
-    false, false, false, true, true, false)), (String ((Ascii (true, false,
-    false, true, false, true, true, false)), (String ((Ascii (false, false,
-    true, true, false, true, true, false)), (String ((Ascii (true, true,
-    false, false, true, false, true, false)), (String ((Ascii (true, false,
-    true, false, false, true, true, false)), (String ((Ascii (true, false,
-    false, false, true, true, true, false)), (String ((Ascii (true, false,
-    true, false, true, true, true, false)), (String ((Ascii (true, false,
-    true, false, false, true, true, false)), (String ((Ascii (false, true,
-    true, true, false, true, true, false)), (String ((Ascii (true, true,
-    false, false, false, true, true, false)), (String ((Ascii (true, false,
-    true, false, false, true, true, false)), (String ((Ascii (false, true,
-    true, true, false, false, true, false)), (String ((Ascii (true, false,
-    true, false, true, true, true, false)), (String ((Ascii (true, false,
-    true, true, false, true, true, false)), (String ((Ascii (false, true,
-    false, false, false, true, true, false)), (String ((Ascii (true, false,
-    true, false, false, true, true, false)), (String ((Ascii (false, true,
-    false, false, true, true, true, false)),
-    EmptyString)))))))))))))))))))))))))))))))))))))))))))))))))), (S (S (S
-    (S (S (S (S O))))))))) :: [])))))); l_cuts =
-    ((mkcut O (S O) EmptyString []) :: ((mkcut (S O) (S (S (S O))) (String
-                                          ((Ascii (false, false, true, false,
-                                          true, false, true, false)), (String
-                                          ((Ascii (true, false, false, true,
-                                          true, true, true, false)), (String
-                                          ((Ascii (false, false, false,
-                                          false, true, true, true, false)),
-                                          (String ((Ascii (true, false, true,
-                                          false, false, true, true, false)),
-                                          (String ((Ascii (true, true, false,
-                                          false, false, false, true, false)),
-                                          (String ((Ascii (true, true, true,
-                                          true, false, true, true, false)),
-                                          (String ((Ascii (false, false,
-                                          true, false, false, true, true,
-                                          false)), (String ((Ascii (true,
-                                          false, true, false, false, true,
-                                          true, false)),
-                                          EmptyString)))))))))))))))) []) :: (
-    (mkcut (S (S (S O))) (S (S (S (S (S (S (S (S (S (S (S (S (S (S (S (S (S
-      (S (S (S (S (S (S (S (S (S (S (S (S (S (S (S (S (S (S (S (S (S
-      O)))))))))))))))))))))))))))))))))))))) (String ((Ascii (true, true,
-      true, true, false, false, true, false)), (String ((Ascii (false, true,
-      false, false, true, true, true, false)), (String ((Ascii (true, false,
-      false, true, false, true, true, false)), (String ((Ascii (true, true,
-      true, false, false, true, true, false)), (String ((Ascii (true, false,
-      false, true, false, true, true, false)), (String ((Ascii (false, true,
-      true, true, false, true, true, false)), (String ((Ascii (true, false,
-      false, false, false, true, true, false)), (String ((Ascii (false,
-      false, true, false, true, true, true, false)), (String ((Ascii (true,
-      true, true, true, false, true, true, false)), (String ((Ascii (false,
-      true, false, false, true, true, true, false)), (String ((Ascii (false,
-      true, true, true, false, false, true, false)), (String ((Ascii (true,
-      false, false, false, false, true, true, false)), (String ((Ascii (true,
-      false, true, true, false, true, true, false)), (String ((Ascii (true,
-      false, true, false, false, true, true, false)),
-      EmptyString)))))))))))))))))))))))))))) ((String ((Ascii (true, true,
-      false, false, true, true, true, false)), (String ((Ascii (false, false,
-      true, false, true, true, true, false)), (String ((Ascii (false, true,
-      false, false, true, true, true, false)), (String ((Ascii (true, false,
-      false, true, false, true, true, false)), (String ((Ascii (false, true,
-      true, true, false, true, true, false)), (String ((Ascii (true, true,
-      true, false, false, true, true, false)), (String ((Ascii (true, true,
-      false, false, true, true, true, false)), (String ((Ascii (false, true,
-      true, true, false, true, false, false)), (String ((Ascii (false, false,
-      true, false, true, false, true, false)), (String ((Ascii (false, true,
-      false, false, true, true, true, false)), (String ((Ascii (true, false,
-      false, true, false, true, true, false)), (String ((Ascii (true, false,
-      true, true, false, true, true, false)), (String ((Ascii (true, true,
-      false, false, true, false, true, false)), (String ((Ascii (false,
-      false, false, false, true, true, true, false)), (String ((Ascii (true,
-      false, false, false, false, true, true, false)), (String ((Ascii (true,
-      true, false, false, false, true, true, false)), (String ((Ascii (true,
-      false, true, false, false, true, true, false)),
-      EmptyString)))))))))))))))))))))))))))))))))) :: [])) :: ((mkcut (S (S
-                                                                  (S (S (S (S
-                                                                  (S (S (S (S
-                                                                  (S (S (S (S
-                                                                  (S (S (S (S
-                                                                  (S (S (S (S
-                                                                  (S (S (S (S
-                                                                  (S (S (S (S
-                                                                  (S (S (S (S
-                                                                  (S (S (S (S
-                                                                  O))))))))))))))))))))))))))))))))))))))
-                                                                  (S (S (S (S
-                                                                  (S (S (S (S
-                                                                  (S (S (S (S
-                                                                  (S (S (S (S
-                                                                  (S (S (S (S
-                                                                  (S (S (S (S
-                                                                  (S (S (S (S
-                                                                  (S (S (S (S
-                                                                  (S (S (S (S
-                                                                  (S (S (S (S
-                                                                  (S (S (S (S
-                                                                  (S (S (S (S
-                                                                  (S (S (S (S
-                                                                  (S (S (S (S
-                                                                  (S (S (S (S
-                                                                  (S (S (S (S
-                                                                  (S (S (S (S
-                                                                  (S (S (S (S
-                                                                  (S
-                                                                  O)))))))))))))))))))))))))))))))))))))))))))))))))))))))))))))))))))))))))
-                                                                  (String
-                                                                  ((Ascii
-                                                                  (true,
-                                                                  true, true,
-                                                                  true,
-                                                                  false,
-                                                                  false,
-                                                                  true,
-                                                                  false)),
-                                                                  (String
-                                                                  ((Ascii
-                                                                  (false,
-                                                                  true,
-                                                                  false,
-                                                                  false,
-                                                                  true, true,
-                                                                  true,
-                                                                  false)),
-                                                                  (String
-                                                                  ((Ascii
-                                                                  (true,
-                                                                  false,
-                                                                  false,
-                                                                  true,
-                                                                  false,
-                                                                  true, true,
-                                                                  false)),
-                                                                  (String
-                                                                  ((Ascii
-                                                                  (true,
-                                                                  true, true,
-                                                                  false,
-                                                                  false,
-                                                                  true, true,
-                                                                  false)),
-                                                                  (String
-                                                                  ((Ascii
-                                                                  (true,
-                                                                  false,
-                                                                  false,
-                                                                  true,
-                                                                  false,
-                                                                  true, true,
-                                                                  false)),
-                                                                  (String
-                                                                  ((Ascii
-                                                                  (false,
-                                                                  true, true,
-                                                                  true,
-                                                                  false,
-                                                                  true, true,
-                                                                  false)),
-                                                                  (String
-                                                                  ((Ascii
-                                                                  (true,
-                                                                  false,
-                                                                  false,
-                                                                  false,
-                                                                  false,
-                                                                  true, true,
-                                                                  false)),
-                                                                  (String
-                                                                  ((Ascii
-                                                                  (false,
-                                                                  false,
-                                                                  true,
-                                                                  false,
-                                                                  true, true,
-                                                                  true,
-                                                                  false)),
-                                                                  (String
-                                                                  ((Ascii
-                                                                  (true,
-                                                                  true, true,
-                                                                  true,
-                                                                  false,
-                                                                  true, true,
-                                                                  false)),
-                                                                  (String
-                                                                  ((Ascii
-                                                                  (false,
-                                                                  true,
-                                                                  false,
-                                                                  false,
-                                                                  true, true,
-                                                                  true,
-                                                                  false)),
-                                                                  (String
-                                                                  ((Ascii
-                                                                  (true,
-                                                                  true,
-                                                                  false,
-                                                                  false,
-                                                                  true,
-                                                                  false,
-                                                                  true,
-                                                                  false)),
-                                                                  (String
-                                                                  ((Ascii
-                                                                  (false,
-                                                                  false,
-                                                                  true,
-                                                                  false,
-                                                                  true, true,
-                                                                  true,
-                                                                  false)),
-                                                                  (String
-                                                                  ((Ascii
-                                                                  (false,
-                                                                  true,
-                                                                  false,
-                                                                  false,
-                                                                  true, true,
-                                                                  true,
-                                                                  false)),
-                                                                  (String
-                                                                  ((Ascii
-                                                                  (true,
-                                                                  false,
-                                                                  true,
-                                                                  false,
-                                                                  false,
-                                                                  true, true,
-                                                                  false)),
-                                                                  (String
-                                                                  ((Ascii
-                                                                  (true,
-                                                                  false,
-                                                                  true,
-                                                                  false,
-                                                                  false,
-                                                                  true, true,
-                                                                  false)),
-                                                                  (String
-                                                                  ((Ascii
-                                                                  (false,
-                                                                  false,
-                                                                  true,
-                                                                  false,
-                                                                  true, true,
-                                                                  true,
-                                                                  false)),
-                                                                  (String
-                                                                  ((Ascii
-                                                                  (true,
-                                                                  false,
-                                                                  false,
-                                                                  false,
-                                                                  false,
-                                                                  false,
-                                                                  true,
-                                                                  false)),
-                                                                  (String
-                                                                  ((Ascii
-                                                                  (false,
-                                                                  false,
-                                                                  true,
-                                                                  false,
-                                                                  false,
-                                                                  true, true,
-                                                                  false)),
-                                                                  (String
-                                                                  ((Ascii
-                                                                  (false,
-                                                                  false,
-                                                                  true,
-                                                                  false,
-                                                                  false,
-                                                                  true, true,
-                                                                  false)),
-                                                                  (String
-                                                                  ((Ascii
-                                                                  (false,
-                                                                  true,
-                                                                  false,
-                                                                  false,
-                                                                  true, true,
-                                                                  true,
-                                                                  false)),
-                                                                  (String
-                                                                  ((Ascii
-                                                                  (true,
-                                                                  false,
-                                                                  true,
-                                                                  false,
-                                                                  false,
-                                                                  true, true,
-                                                                  false)),
-                                                                  (String
-                                                                  ((Ascii
-                                                                  (true,
-                                                                  true,
-                                                                  false,
-                                                                  false,
-                                                                  true, true,
-                                                                  true,
-                                                                  false)),
-                                                                  (String
-                                                                  ((Ascii
-                                                                  (true,
-                                                                  true,
-                                                                  false,
-                                                                  false,
-                                                                  true, true,
-                                                                  true,
-                                                                  false)),
-                                                                  EmptyString))))))))))))))))))))))))))))))))))))))))))))))
-                                                                  ((String
-                                                                  ((Ascii
-                                                                  (true,
-                                                                  true,
-                                                                  false,
-                                                                  false,
-                                                                  true, true,
-                                                                  true,
-                                                                  false)),
-                                                                  (String
-                                                                  ((Ascii
-                                                                  (false,
-                                                                  false,
-                                                                  true,
-                                                                  false,
-                                                                  true, true,
-                                                                  true,
-                                                                  false)),
-                                                                  (String
-                                                                  ((Ascii
-                                                                  (false,
-                                                                  true,
-                                                                  false,
-                                                                  false,
-                                                                  true, true,
-                                                                  true,
-                                                                  false)),
-                                                                  (String
-                                                                  ((Ascii
-                                                                  (true,
-                                                                  false,
-                                                                  false,
-                                                                  true,
-                                                                  false,
-                                                                  true, true,
-                                                                  false)),
-                                                                  (String
-                                                                  ((Ascii
-                                                                  (false,
-                                                                  true, true,
-                                                                  true,
-                                                                  false,
-                                                                  true, true,
-                                                                  false)),
-                                                                  (String
-                                                                  ((Ascii
-                                                                  (true,
-                                                                  true, true,
-                                                                  false,
-                                                                  false,
-                                                                  true, true,
-                                                                  false)),
-                                                                  (String
-                                                                  ((Ascii
-                                                                  (true,
-                                                                  true,
-                                                                  false,
-                                                                  false,
-                                                                  true, true,
-                                                                  true,
-                                                                  false)),
-                                                                  (String
-                                                                  ((Ascii
-                                                                  (false,
-                                                                  true, true,
-                                                                  true,
-                                                                  false,
-                                                                  true,
-                                                                  false,
-                                                                  false)),
-                                                                  (String
-                                                                  ((Ascii
-                                                                  (false,
-                                                                  false,
-                                                                  true,
-                                                                  false,
-                                                                  true,
-                                                                  false,
-                                                                  true,
-                                                                  false)),
-                                                                  (String
-                                                                  ((Ascii
-                                                                  (false,
-                                                                  true,
-                                                                  false,
-                                                                  false,
-                                                                  true, true,
-                                                                  true,
-                                                                  false)),
-                                                                  (String
-                                                                  ((Ascii
-                                                                  (true,
-                                                                  false,
-                                                                  false,
-                                                                  true,
-                                                                  false,
-                                                                  true, true,
-                                                                  false)),
-                                                                  (String
-                                                                  ((Ascii
-                                                                  (true,
-                                                                  false,
-                                                                  true, true,
-                                                                  false,
-                                                                  true, true,
-                                                                  false)),
-                                                                  (String
-                                                                  ((Ascii
-                                                                  (true,
-                                                                  true,
-                                                                  false,
-                                                                  false,
-                                                                  true,
-                                                                  false,
-                                                                  true,
-                                                                  false)),
-                                                                  (String
-                                                                  ((Ascii
-                                                                  (false,
-                                                                  false,
-                                                                  false,
-                                                                  false,
-                                                                  true, true,
-                                                                  true,
-                                                                  false)),
-                                                                  (String
-                                                                  ((Ascii
-                                                                  (true,
-                                                                  false,
-                                                                  false,
-                                                                  false,
-                                                                  false,
-                                                                  true, true,
-                                                                  false)),
-                                                                  (String
-                                                                  ((Ascii
-                                                                  (true,
-                                                                  true,
-                                                                  false,
-                                                                  false,
-                                                                  false,
-                                                                  true, true,
-                                                                  false)),
-                                                                  (String
-                                                                  ((Ascii
-                                                                  (true,
-                                                                  false,
-                                                                  true,
-                                                                  false,
-                                                                  false,
-                                                                  true, true,
-                                                                  false)),
-                                                                  EmptyString)))))))))))))))))))))))))))))))))) :: [])) :: (
-    (mkcut (S (S (S (S (S (S (S (S (S (S (S (S (S (S (S (S (S (S (S (S (S (S
-      (S (S (S (S (S (S (S (S (S (S (S (S (S (S (S (S (S (S (S (S (S (S (S (S
-      (S (S (S (S (S (S (S (S (S (S (S (S (S (S (S (S (S (S (S (S (S (S (S (S
-      (S (S (S
-      O)))))))))))))))))))))))))))))))))))))))))))))))))))))))))))))))))))))))))
-      (S (S (S (S (S (S (S (S (S (S (S (S (S (S (S (S (S (S (S (S (S (S (S (S
-      (S (S (S (S (S (S (S (S (S (S (S (S (S (S (S (S (S (S (S (S (S (S (S (S
-      (S (S (S (S (S (S (S (S (S (S (S (S (S (S (S (S (S (S (S (S (S (S (S (S
-      (S (S (S (S (S (S (S (S (S (S (S (S (S (S (S
-      O)))))))))))))))))))))))))))))))))))))))))))))))))))))))))))))))))))))))))))))))))))))))
-      EmptyString []) :: ((mkcut (S (S (S (S (S (S (S (S (S (S (S (S (S (S (S
-                            (S (S (S (S (S (S (S (S (S (S (S (S (S (S (S (S
-                            (S (S (S (S (S (S (S (S (S (S (S (S (S (S (S (S
-                            (S (S (S (S (S (S (S (S (S (S (S (S (S (S (S (S
-                            (S (S (S (S (S (S (S (S (S (S (S (S (S (S (S (S
-                            (S (S (S (S (S (S (S (S
-                            O)))))))))))))))))))))))))))))))))))))))))))))))))))))))))))))))))))))))))))))))))))))))
-                            (S (S (S (S (S (S (S (S (S (S (S (S (S (S (S (S
-                            (S (S (S (S (S (S (S (S (S (S (S (S (S (S (S (S
-                            (S (S (S (S (S (S (S (S (S (S (S (S (S (S (S (S
-                            (S (S (S (S (S (S (S (S (S (S (S (S (S (S (S (S
-                            (S (S (S (S (S (S (S (S (S (S (S (S (S (S (S (S
-                            (S (S (S (S (S (S (S (S (S (S (S (S (S (S
-                            O))))))))))))))))))))))))))))))))))))))))))))))))))))))))))))))))))))))))))))))))))))))))))))))
-                            (String ((Ascii (true, false, true, false, false,
-                            false, true, false)), (String ((Ascii (false,
-                            true, true, true, false, true, true, false)),
-                            (String ((Ascii (false, false, true, false, true,
-                            true, true, false)), (String ((Ascii (false,
-                            true, false, false, true, true, true, false)),
-                            (String ((Ascii (true, false, false, true, true,
-                            true, true, false)), (String ((Ascii (false,
-                            false, true, false, false, false, true, false)),
-                            (String ((Ascii (true, false, true, false, false,
-                            true, true, false)), (String ((Ascii (false,
-                            false, true, false, true, true, true, false)),
-                            (String ((Ascii (true, false, false, false,
-                            false, true, true, false)), (String ((Ascii
-                            (true, false, false, true, false, true, true,
-                            false)), (String ((Ascii (false, false, true,
-                            true, false, true, true, false)), (String ((Ascii
-                            (true, true, false, false, true, false, true,
-                            false)), (String ((Ascii (true, false, true,
-                            false, false, true, true, false)), (String
-                            ((Ascii (true, false, false, false, true, true,
-                            true, false)), (String ((Ascii (true, false,
-                            true, false, true, true, true, false)), (String
-                            ((Ascii (true, false, true, false, false, true,
-                            true, false)), (String ((Ascii (false, true,
-                            true, true, false, true, true, false)), (String
-                            ((Ascii (true, true, false, false, false, true,
-                            true, false)), (String ((Ascii (true, false,
-                            true, false, false, true, true, false)), (String
-                            ((Ascii (false, true, true, true, false, false,
-                            true, false)), (String ((Ascii (true, false,
-                            true, false, true, true, true, false)), (String
-                            ((Ascii (true, false, true, true, false, true,
-                            true, false)), (String ((Ascii (false, true,
-                            false, false, false, true, true, false)), (String
-                            ((Ascii (true, false, true, false, false, true,
-                            true, false)), (String ((Ascii (false, true,
-                            false, false, true, true, true, false)),
-                            EmptyString))))))))))))))))))))))))))))))))))))))))))))))))))
-                            ((String ((Ascii (false, false, false, false,
-                            true, true, true, false)), (String ((Ascii (true,
-                            false, false, false, false, true, true, false)),
-                            (String ((Ascii (false, true, false, false, true,
-                            true, true, false)), (String ((Ascii (true, true,
-                            false, false, true, true, true, false)), (String
-                            ((Ascii (true, false, true, false, false, true,
-                            true, false)), (String ((Ascii (false, true,
-                            true, true, false, false, true, false)), (String
-                            ((Ascii (true, false, true, false, true, true,
-                            true, false)), (String ((Ascii (true, false,
-                            true, true, false, true, true, false)), (String
-                            ((Ascii (false, true, true, false, false, false,
-                            true, false)), (String ((Ascii (true, false,
-                            false, true, false, true, true, false)), (String
-                            ((Ascii (true, false, true, false, false, true,
-                            true, false)), (String ((Ascii (false, false,
-                            true, true, false, true, true, false)), (String
-                            ((Ascii (false, false, true, false, false, true,
-                            true, false)),
-                            EmptyString)))))))))))))))))))))))))) :: [])) :: [])))))) }
-
-(** val l_Addenda12 : layout **)
-
-let l_Addenda12 =
-  { l_name = (String ((Ascii (true, false, false, false, false, false, true,
-    false)), (String ((Ascii (false, false, true, false, false, true, true,
-    false)), (String ((Ascii (false, false, true, false, false, true, true,
-    false)), (String ((Ascii (true, false, true, false, false, true, true,
-    false)), (String ((Ascii (false, true, true, true, false, true, true,
-    false)), (String ((Ascii (false, false, true, false, false, true, true,
-    false)), (String ((Ascii (true, false, false, false, false, true, true,
-    false)), (String ((Ascii (true, false, false, false, true, true, false,
-    false)), (String ((Ascii (false, true, false, false, true, true, false,
-    false)), EmptyString)))))))))))))))))); l_ix = IRune; l_segs = ((SLit
-    ((Npos (XI (XI (XI (XO (XI XH)))))) :: [])) :: ((SRaw (String ((Ascii
-    (false, false, true, false, true, false, true, false)), (String ((Ascii
-    (true, false, false, true, true, true, true, false)), (String ((Ascii
-    (false, false, false, false, true, true, true, false)), (String ((Ascii
-    (true, false, true, false, false, true, true, false)), (String ((Ascii
-    (true, true, false, false, false, false, true, false)), (String ((Ascii
-    (true, true, true, true, false, true, true, false)), (String ((Ascii
-    (false, false, true, false, false, true, true, false)), (String ((Ascii
-    (true, false, true, false, false, true, true, false)),
-    EmptyString))))))))))))))))) :: ((SAlpha ((String ((Ascii (true, true,
-    true, true, false, false, true, false)), (String ((Ascii (false, true,
-    false, false, true, true, true, false)), (String ((Ascii (true, false,
-    false, true, false, true, true, false)), (String ((Ascii (true, true,
-    true, false, false, true, true, false)), (String ((Ascii (true, false,
-    false, true, false, true, true, false)), (String ((Ascii (false, true,
-    true, true, false, true, true, false)), (String ((Ascii (true, false,
-    false, false, false, true, true, false)), (String ((Ascii (false, false,
-    true, false, true, true, true, false)), (String ((Ascii (true, true,
-    true, true, false, true, true, false)), (String ((Ascii (false, true,
-    false, false, true, true, true, false)), (String ((Ascii (true, true,
-    false, false, false, false, true, false)), (String ((Ascii (true, false,
-    false, true, false, true, true, false)), (String ((Ascii (false, false,
-    true, false, true, true, true, false)), (String ((Ascii (true, false,
-    false, true, true, true, true, false)), (String ((Ascii (true, true,
-    false, false, true, false, true, false)), (String ((Ascii (false, false,
-    true, false, true, true, true, false)), (String ((Ascii (true, false,
-    false, false, false, true, true, false)), (String ((Ascii (false, false,
-    true, false, true, true, true, false)), (String ((Ascii (true, false,
-    true, false, false, true, true, false)), (String ((Ascii (false, false,
-    false, false, true, false, true, false)), (String ((Ascii (false, true,
-    false, false, true, true, true, false)), (String ((Ascii (true, true,
-    true, true, false, true, true, false)), (String ((Ascii (false, true,
-    true, false, true, true, true, false)), (String ((Ascii (true, false,
-    false, true, false, true, true, false)), (String ((Ascii (false, true,
-    true, true, false, true, true, false)), (String ((Ascii (true, true,
-    false, false, false, true, true, false)), (String ((Ascii (true, false,
-    true, false, false, true, true, false)),
-    EmptyString)))))))))))))))))))))))))))))))))))))))))))))))))))))), (S (S
-    (S (S (S (S (S (S (S (S (S (S (S (S (S (S (S (S (S (S (S (S (S (S (S (S
-    (S (S (S (S (S (S (S (S (S
-    O))))))))))))))))))))))))))))))))))))) :: ((SAlpha ((String ((Ascii
-    (true, true, true, true, false, false, true, false)), (String ((Ascii
-    (false, true, false, false, true, true, true, false)), (String ((Ascii
-    (true, false, false, true, false, true, true, false)), (String ((Ascii
-    (true, true, true, false, false, true, true, false)), (String ((Ascii
-    (true, false, false, true, false, true, true, false)), (String ((Ascii
-    (false, true, true, true, false, true, true, false)), (String ((Ascii
-    (true, false, false, false, false, true, true, false)), (String ((Ascii
-    (false, false, true, false, true, true, true, false)), (String ((Ascii
-    (true, true, true, true, false, true, true, false)), (String ((Ascii
-    (false, true, false, false, true, true, true, false)), (String ((Ascii
-    (true, true, false, false, false, false, true, false)), (String ((Ascii
-    (true, true, true, true, false, true, true, false)), (String ((Ascii
-    (true, false, true, false, true, true, true, false)), (String ((Ascii
-    (false, true, true, true, false, true, true, false)), (String ((Ascii
-    (false, false, true, false, true, true, true, false)), (String ((Ascii
-    (false, true, false, false, true, true, true, false)), (String ((Ascii
-    (true, false, false, true, true, true, true, false)), (String ((Ascii
-    (false, false, false, false, true, false, true, false)), (String ((Ascii
-    (true, true, true, true, false, true, true, false)), (String ((Ascii
-    (true, true, false, false, true, true, true, false)), (String ((Ascii
-    (false, false, true, false, true, true, true, false)), (String ((Ascii
-    (true, false, false, false, false, true, true, false)), (String ((Ascii
-    (false, false, true, true, false, true, true, false)), (String ((Ascii
-    (true, true, false, false, false, false, true, false)), (String ((Ascii
-    (true, true, true, true, false, true, true, false)), (String ((Ascii
-    (false, false, true, false, false, true, true, false)), (String ((Ascii
-    (true, false, true, false, false, true, true, false)),
-    EmptyString)))))))))))))))))))))))))))))))))))))))))))))))))))))), (S (S
-    (S (S (S (S (S (S (S (S (S (S (S (S (S (S (S (S (S (S (S (S (S (S (S (S
-    (S (S (S (S (S (S (S (S (S
-    O))))))))))))))))))))))))))))))))))))) :: ((SLit ((Npos (XO (XO (XO (XO
-    (XO XH)))))) :: ((Npos (XO (XO (XO (XO (XO XH)))))) :: ((Npos (XO (XO (XO
-    (XO (XO XH)))))) :: ((Npos (XO (XO (XO (XO (XO XH)))))) :: ((Npos (XO (XO
-    (XO (XO (XO XH)))))) :: ((Npos (XO (XO (XO (XO (XO XH)))))) :: ((Npos (XO
-    (XO (XO (XO (XO XH)))))) :: ((Npos (XO (XO (XO (XO (XO XH)))))) :: ((Npos
-    (XO (XO (XO (XO (XO XH)))))) :: ((Npos (XO (XO (XO (XO (XO
-    XH)))))) :: ((Npos (XO (XO (XO (XO (XO XH)))))) :: ((Npos (XO (XO (XO (XO
-    (XO XH)))))) :: ((Npos (XO (XO (XO (XO (XO XH)))))) :: ((Npos (XO (XO (XO
-    (XO (XO XH)))))) :: []))))))))))))))) :: ((SNum ((String ((Ascii (true,
-    false, true, false, false, false, true, false)), (String ((Ascii (false,
-    true, true, true, false, true, true, false)), (String ((Ascii (false,
-    false, true, false, true, true, true, false)), (String ((Ascii (false,
-    true, false, false, true, true, true, false)), (String ((Ascii (true,
-    false, false, true, true, true, true, false)), (String ((Ascii (false,
-    false, true, false, false, false, true, false)), (String ((Ascii (true,
-    false, true, false, false, true, true, false)), (String ((Ascii (false,
-    false, true, false, true, true, true, false)), (String ((Ascii (true,
-    false, false, false, false, true, true, false)), (String ((Ascii (true,
-    false, false, true, false, true, true, false)), (String ((Ascii (false,
-    false, true, true, false, true, true, false)), (String ((Ascii (true,
-    true, false, false, true, false, true, false)), (String ((Ascii (true,
-    false, true, false, false, true, true, false)), (String ((Ascii (true,
-    false, false, false, true, true, true, false)), (String ((Ascii (true,
-    false, true, false, true, true, true, false)), (String ((Ascii (true,
-    false, true, false, false, true, true, false)), (String ((Ascii (false,
-    true, true, true, false, true, true, false)), (String ((Ascii (true,
-    true, false, false, false, true, true, false)), (String ((Ascii (true,
-    false, true, false, false, true, true, false)), (String ((Ascii (false,
-    true, true, true, false, false, true, false)), (String ((Ascii (true,
-    false, true, false, true, true, true, false)), (String ((Ascii (true,
-    false, true, true, false, true, true, false)), (String ((Ascii (false,
-    true, false, false, false, true, true, false)), (String ((Ascii (true,
-    false, true, false, false, true, true, false)), (String ((Ascii (false,
-    true, false, false, true, true, true, false)),
-    EmptyString)))))))))))))))))))))))))))))))))))))))))))))))))), (S (S (S
-    (S (S (S (S O))))))))) :: [])))))); l_cuts =
-    ((mkcut O (S O) EmptyString []) :: ((mkcut (S O) (S (S (S O))) (String
-                                          ((Ascii (false, false, true, false,
-                                          true, false, true, false)), (String
-                                          ((Ascii (true, false, false, true,
-                                          true, true, true, false)), (String
-                                          ((Ascii (false, false, false,
-                                          false, true, true, true, false)),
-                                          (String ((Ascii (true, false, true,
-                                          false, false, true, true, false)),
-                                          (String ((Ascii (true, true, false,
-                                          false, false, false, true, false)),
-                                          (String ((Ascii (true, true, true,
-                                          true, false, true, true, false)),
-                                          (String ((Ascii (false, false,
-                                          true, false, false, true, true,
-                                          false)), (String ((Ascii (true,
-                                          false, true, false, false, true,
-                                          true, false)),
-                                          EmptyString)))))))))))))))) []) :: (
-    (mkcut (S (S (S O))) (S (S (S (S (S (S (S (S (S (S (S (S (S (S (S (S (S
-      (S (S (S (S (S (S (S (S (S (S (S (S (S (S (S (S (S (S (S (S (S
-      O)))))))))))))))))))))))))))))))))))))) (String ((Ascii (true, true,
-      true, true, false, false, true, false)), (String ((Ascii (false, true,
-      false, false, true, true, true, false)), (String ((Ascii (true, false,
-      false, true, false, true, true, false)), (String ((Ascii (true, true,
-      true, false, false, true, true, false)), (String ((Ascii (true, false,
-      false, true, false, true, true, false)), (String ((Ascii (false, true,
-      true, true, false, true, true, false)), (String ((Ascii (true, false,
-      false, false, false, true, true, false)), (String ((Ascii (false,
-      false, true, false, true, true, true, false)), (String ((Ascii (true,
-      true, true, true, false, true, true, false)), (String ((Ascii (false,
-      true, false, false, true, true, true, false)), (String ((Ascii (true,
-      true, false, false, false, false, true, false)), (String ((Ascii (true,
-      false, false, true, false, true, true, false)), (String ((Ascii (false,
-      false, true, false, true, true, true, false)), (String ((Ascii (true,
-      false, false, true, true, true, true, false)), (String ((Ascii (true,
-      true, false, false, true, false, true, false)), (String ((Ascii (false,
-      false, true, false, true, true, true, false)), (String ((Ascii (true,
-      false, false, false, false, true, true, false)), (String ((Ascii
-      (false, false, true, false, true, true, true, false)), (String ((Ascii
-      (true, false, true, false, false, true, true, false)), (String ((Ascii
-      (false, false, false, false, true, false, true, false)), (String
-      ((Ascii (false, true, false, false, true, true, true, false)), (String
-      ((Ascii (true, true, true, true, false, true, true, false)), (String
-      ((Ascii (false, true, true, false, true, true, true, false)), (String
-      ((Ascii (true, false, false, true, false, true, true, false)), (String
-      ((Ascii (false, true, true, true, false, true, true, false)), (String
-      ((Ascii (true, true, false, false, false, true, true, false)), (String
-      ((Ascii (true, false, true, false, false, true, true, false)),
-      EmptyString))))))))))))))))))))))))))))))))))))))))))))))))))))))
-      ((String ((Ascii (true, true, false, false, true, true, true, false)),
-      (String ((Ascii (false, false, true, false, true, true, true, false)),
-      (String ((Ascii (false, true, false, false, true, true, true, false)),
-      (String ((Ascii (true, false, false, true, false, true, true, false)),
-      (String ((Ascii (false, true, true, true, false, true, true, false)),
-      (String ((Ascii (true, true, true, false, false, true, true, false)),
-      (String ((Ascii (true, true, false, false, true, true, true, false)),
-      (String ((Ascii (false, true, true, true, false, true, false, false)),
-      (String ((Ascii (false, false, true, false, true, false, true, false)),
-      (String ((Ascii (false, true, false, false, true, true, true, false)),
-      (String ((Ascii (true, false, false, true, false, true, true, false)),
-      (String ((Ascii (true, false, true, true, false, true, true, false)),
-      (String ((Ascii (true, true, false, false, true, false, true, false)),
-      (String ((Ascii (false, false, false, false, true, true, true, false)),
-      (String ((Ascii (true, false, false, false, false, true, true, false)),
-      (String ((Ascii (true, true, false, false, false, true, true, false)),
-      (String ((Ascii (true, false, true, false, false, true, true, false)),
-      EmptyString)))))))))))))))))))))))))))))))))) :: [])) :: ((mkcut (S (S
-                                                                  (S (S (S (S
-                                                                  (S (S (S (S
-                                                                  (S (S (S (S
-                                                                  (S (S (S (S
-                                                                  (S (S (S (S
-                                                                  (S (S (S (S
-                                                                  (S (S (S (S
-                                                                  (S (S (S (S
-                                                                  (S (S (S (S
-                                                                  O))))))))))))))))))))))))))))))))))))))
-                                                                  (S (S (S (S
-                                                                  (S (S (S (S
-                                                                  (S (S (S (S
-                                                                  (S (S (S (S
-                                                                  (S (S (S (S
-                                                                  (S (S (S (S
-                                                                  (S (S (S (S
-                                                                  (S (S (S (S
-                                                                  (S (S (S (S
-                                                                  (S (S (S (S
-                                                                  (S (S (S (S
-                                                                  (S (S (S (S
-                                                                  (S (S (S (S
-                                                                  (S (S (S (S
-                                                                  (S (S (S (S
-                                                                  (S (S (S (S
-                                                                  (S (S (S (S
-                                                                  (S (S (S (S
-                                                                  (S
-                                                                  O)))))))))))))))))))))))))))))))))))))))))))))))))))))))))))))))))))))))))
-                                                                  (String
-                                                                  ((Ascii
-                                                                  (true,
-                                                                  true, true,
-                                                                  true,
-                                                                  false,
-                                                                  false,
-                                                                  true,
-                                                                  false)),
-                                                                  (String
-                                                                  ((Ascii
-                                                                  (false,
-                                                                  true,
-                                                                  false,
-                                                                  false,
-                                                                  true, true,
-                                                                  true,
-                                                                  false)),
-                                                                  (String
-                                                                  ((Ascii
-                                                                  (true,
-                                                                  false,
-                                                                  false,
-                                                                  true,
-                                                                  false,
-                                                                  true, true,
-                                                                  false)),
-                                                                  (String
-                                                                  ((Ascii
-                                                                  (true,
-                                                                  true, true,
-                                                                  false,
-                                                                  false,
-                                                                  true, true,
-                                                                  false)),
-                                                                  (String
-                                                                  ((Ascii
-                                                                  (true,
-                                                                  false,
-                                                                  false,
-                                                                  true,
-                                                                  false,
-                                                                  true, true,
-                                                                  false)),
-                                                                  (String
-                                                                  ((Ascii
-                                                                  (false,
-                                                                  true, true,
-                                                                  true,
-                                                                  false,
-                                                                  true, true,
-                                                                  false)),
-                                                                  (String
-                                                                  ((Ascii
-                                                                  (true,
-                                                                  false,
-                                                                  false,
-                                                                  false,
-                                                                  false,
-                                                                  true, true,
-                                                                  false)),
-                                                                  (String
-                                                                  ((Ascii
-                                                                  (false,
-                                                                  false,
-                                                                  true,
-                                                                  false,
-                                                                  true, true,
-                                                                  true,
-                                                                  false)),
-                                                                  (String
-                                                                  ((Ascii
-                                                                  (true,
-                                                                  true, true,
-                                                                  true,
-                                                                  false,
-                                                                  true, true,
-                                                                  false)),
-                                                                  (String
-                                                                  ((Ascii
-                                                                  (false,
-                                                                  true,
-                                                                  false,
-                                                                  false,
-                                                                  true, true,
-                                                                  true,
-                                                                  false)),
-                                                                  (String
-                                                                  ((Ascii
-                                                                  (true,
-                                                                  true,
-                                                                  false,
-                                                                  false,
-                                                                  false,
-                                                                  false,
-                                                                  true,
-                                                                  false)),
-                                                                  (String
-                                                                  ((Ascii
-                                                                  (true,
-                                                                  true, true,
-                                                                  true,
-                                                                  false,
-                                                                  true, true,
-                                                                  false)),
-                                                                  (String
-                                                                  ((Ascii
-                                                                  (true,
-                                                                  false,
-                                                                  true,
-                                                                  false,
-                                                                  true, true,
-                                                                  true,
-                                                                  false)),
-                                                                  (String
-                                                                  ((Ascii
-                                                                  (false,
-                                                                  true, true,
-                                                                  true,
-                                                                  false,
-                                                                  true, true,
-                                                                  false)),
-                                                                  (String
-                                                                  ((Ascii
-                                                                  (false,
-                                                                  false,
-                                                                  true,
-                                                                  false,
-                                                                  true, true,
-                                                                  true,
-                                                                  false)),
-                                                                  (String
-                                                                  ((Ascii
-                                                                  (false,
-                                                                  true,
-                                                                  false,
-                                                                  false,
-                                                                  true, true,
-                                                                  true,
-                                                                  false)),
-                                                                  (String
-                                                                  ((Ascii
-                                                                  (true,
-                                                                  false,
-                                                                  false,
-                                                                  true, true,
-                                                                  true, true,
-                                                                  false)),
-                                                                  (String
-                                                                  ((Ascii
-                                                                  (false,
-                                                                  false,
-                                                                  false,
-                                                                  false,
-                                                                  true,
-                                                                  false,
-                                                                  true,
-                                                                  false)),
-                                                                  (String
-                                                                  ((Ascii
-                                                                  (true,
-                                                                  true, true,
-                                                                  true,
-                                                                  false,
-                                                                  true, true,
-                                                                  false)),
-                                                                  (String
-                                                                  ((Ascii
-                                                                  (true,
-                                                                  true,
-                                                                  false,
-                                                                  false,
-                                                                  true, true,
-                                                                  true,
-                                                                  false)),
-                                                                  (String
-                                                                  ((Ascii
-                                                                  (false,
-                                                                  false,
-                                                                  true,
-                                                                  false,
-                                                                  true, true,
-                                                                  true,
-                                                                  false)),
-                                                                  (String
-                                                                  ((Ascii
-                                                                  (true,
-                                                                  false,
-                                                                  false,
-                                                                  false,
-                                                                  false,
-                                                                  true, true,
-                                                                  false)),
-                                                                  (String
-                                                                  ((Ascii
-                                                                  (false,
-                                                                  false,
-                                                                  true, true,
-                                                                  false,
-                                                                  true, true,
-                                                                  false)),
-                                                                  (String
-                                                                  ((Ascii
-                                                                  (true,
-                                                                  true,
-                                                                  false,
-                                                                  false,
-                                                                  false,
-                                                                  false,
-                                                                  true,
-                                                                  false)),
-                                                                  (String
-                                                                  ((Ascii
-                                                                  (true,
-                                                                  true, true,
-                                                                  true,
-                                                                  false,
-                                                                  true, true,
-                                                                  false)),
-                                                                  (String
-                                                                  ((Ascii
-                                                                  (false,
-                                                                  false,
-                                                                  true,
-                                                                  false,
-                                                                  false,
-                                                                  true, true,
-                                                                  false)),
-                                                                  (String
-                                                                  ((Ascii
-                                                                  (true,
-                                                                  false,
-                                                                  true,
-                                                                  false,
-                                                                  false,
-                                                                  true, true,
-                                                                  false)),
-                                                                  EmptyString))))))))))))))))))))))))))))))))))))))))))))))))))))))
-                                                                  ((String
-                                                                  ((Ascii
-                                                                  (true,
-                                                                  true,
-                                                                  false,
-                                                                  false,
-                                                                  true, true,
-                                                                  true,
-                                                                  false)),
-                                                                  (String
-                                                                  ((Ascii
-                                                                  (false,
-                                                                  false,
-                                                                  true,
-                                                                  false,
-                                                                  true, true,
-                                                                  true,
-                                                                  false)),
-                                                                  (String
-                                                                  ((Ascii
-                                                                  (false,
-                                                                  true,
-                                                                  false,
-                                                                  false,
-                                                                  true, true,
-                                                                  true,
-                                                                  false)),
-                                                                  (String
-                                                                  ((Ascii
-                                                                  (true,
-                                                                  false,
-                                                                  false,
-                                                                  true,
-                                                                  false,
-                                                                  true, true,
-                                                                  false)),
-                                                                  (String
-                                                                  ((Ascii
-                                                                  (false,
-                                                                  true, true,
-                                                                  true,
-                                                                  false,
-                                                                  true, true,
-                                                                  false)),
-                                                                  (String
-                                                                  ((Ascii
-                                                                  (true,
-                                                                  true, true,
-                                                                  false,
-                                                                  false,
-                                                                  true, true,
-                                                                  false)),
-                                                                  (String
-                                                                  ((Ascii
-                                                                  (true,
-                                                                  true,
-                                                                  false,
-                                                                  false,
-                                                                  true, true,
-                                                                  true,
-                                                                  false)),
-                                                                  (String
-                                                                  ((Ascii
-                                                                  (false,
-                                                                  true, true,
-                                                                  true,
-                                                                  false,
-                                                                  true,
-                                                                  false,
-                                                                  false)),
-                                                                  (String
-                                                                  ((Ascii
-                                                                  (false,
-                                                                  false,
-                                                                  true,
-                                                                  false,
-                                                                  true,
-                                                                  false,
-                                                                  true,
-                                                                  false)),
-                                                                  (String
-                                                                  ((Ascii
-                                                                  (false,
-                                                                  true,
-                                                                  false,
-                                                                  false,
-                                                                  true, true,
-                                                                  true,
-                                                                  false)),
-                                                                  (String
-                                                                  ((Ascii
-                                                                  (true,
-                                                                  false,
-                                                                  false,
-                                                                  true,
-                                                                  false,
-                                                                  true, true,
-                                                                  false)),
-                                                                  (String
-                                                                  ((Ascii
-                                                                  (true,
-                                                                  false,
-                                                                  true, true,
-                                                                  false,
-                                                                  true, true,
-                                                                  false)),
-                                                                  (String
-                                                                  ((Ascii
-                                                                  (true,
-                                                                  true,
-                                                                  false,
-                                                                  false,
-                                                                  true,
-                                                                  false,
-                                                                  true,
-                                                                  false)),
-                                                                  (String
-                                                                  ((Ascii
-                                                                  (false,
-                                                                  false,
-                                                                  false,
-                                                                  false,
-                                                                  true, true,
-                                                                  true,
-                                                                  false)),
-                                                                  (String
-                                                                  ((Ascii
-                                                                  (true,
-                                                                  false,
-                                                                  false,
-                                                                  false,
-                                                                  false,
-                                                                  true, true,
-                                                                  false)),
-                                                                  (String
-                                                                  ((Ascii
-                                                                  (true,
-                                                                  true,
-                                                                  false,
-                                                                  false,
-                                                                  false,
-                                                                  true, true,
-                                                                  false)),
-                                                                  (String
-                                                                  ((Ascii
-                                                                  (true,
-                                                                  false,
-                                                                  true,
-                                                                  false,
-                                                                  false,
-                                                                  true, true,
-                                                                  false)),
-                                                                  EmptyString)))))))))))))))))))))))))))))))))) :: [])) :: (
-    (mkcut (S (S (S (S (S (S (S (S (S (S (S (S (S (S (S (S (S (S (S (S (S (S
-      (S (S (S (S (S (S (S (S (S (S (S (S (S (S (S (S (S (S (S (S (S (S (S (S
-      (S (S (S (S (S (S (S (S (S (S (S (S (S (S (S (S (S (S (S (S (S (S (S (S
-      (S (S (S
-      O)))))))))))))))))))))))))))))))))))))))))))))))))))))))))))))))))))))))))
-      (S (S (S (S (S (S (S (S (S (S (S (S (S (S (S (S (S (S (S (S (S (S (S (S
-      (S (S (S (S (S (S (S (S (S (S (S (S (S (S (S (S (S (S (S (S (S (S (S (S
-      (S (S (S (S (S (S (S (S (S (S (S (S (S (S (S (S (S (S (S (S (S (S (S (S
-      (S (S (S (S (S (S (S (S (S (S (S (S (S (S (S
-      O)))))))))))))))))))))))))))))))))))))))))))))))))))))))))))))))))))))))))))))))))))))))
-      EmptyString []) :: ((mkcut (S (S (S (S (S (S (S (S (S (S (S (S (S (S (S
-                            (S (S (S (S (S (S (S (S (S (S (S (S (S (S (S (S
-                            (S (S (S (S (S (S (S (S (S (S (S (S (S (S (S (S
-                            (S (S (S (S (S (S (S (S (S (S (S (S (S (S (S (S
-                            (S (S (S (S (S (S (S (S (S (S (S (S (S (S (S (S
-                            (S (S (S (S (S (S (S (S
-                            O)))))))))))))))))))))))))))))))))))))))))))))))))))))))))))))))))))))))))))))))))))))))
-                            (S (S (S (S (S (S (S (S (S (S (S (S (S (S (S (S
-                            (S (S (S (S (S (S (S (S (S (S (S (S (S (S (S (S
-                            (S (S (S (S (S (S (S (S (S (S (S (S (S (S (S (S
-                            (S (S (S (S (S (S (S (S (S (S (S (S (S (S (S (S
-                            (S (S (S (S (S (S (S (S (S (S (S (S (S (S (S (S
-                            (S (S (S (S (S (S (S (S (S (S (S (S (S (S
-                            O))))))))))))))))))))))))))))))))))))))))))))))))))))))))))))))))))))))))))))))))))))))))))))))
-                            (String ((Ascii (true, false, true, false, false,
-                            false, true, false)), (String ((Ascii (false,
-                            true, true, true, false, true, true, false)),
-                            (String ((Ascii (false, false, true, false, true,
-                            true, true, false)), (String ((Ascii (false,
-                            true, false, false, true, true, true, false)),
-                            (String ((Ascii (true, false, false, true, true,
-                            true, true, false)), (String ((Ascii (false,
-                            false, true, false, false, false, true, false)),
-                            (String ((Ascii (true, false, true, false, false,
-                            true, true, false)), (String ((Ascii (false,
-                            false, true, false, true, true, true, false)),
-                            (String ((Ascii (true, false, false, false,
-                            false, true, true, false)), (String ((Ascii
-                            (true, false, false, true, false, true, true,
-                            false)), (String ((Ascii (false, false, true,
-                            true, false, true, true, false)), (String ((Ascii
-                            (true, true, false, false, true, false, true,
-                            false)), (String ((Ascii (true, false, true,
-                            false, false, true, true, false)), (String
-                            ((Ascii (true, false, false, false, true, true,
-                            true, false)), (String ((Ascii (true, false,
-                            true, false, true, true, true, false)), (String
-                            ((Ascii (true, false, true, false, false, true,
-                            true, false)), (String ((Ascii (false, true,
-                            true, true, false, true, true, false)), (String
-                            ((Ascii (true, true, false, false, false, true,
-                            true, false)), (String ((Ascii (true, false,
-                            true, false, false, true, true, false)), (String
-                            ((Ascii (false, true, true, true, false, false,
-                            true, false)), (String ((Ascii (true, false,
-                            true, false, true, true, true, false)), (String
-                            ((Ascii (true, false, true, true, false, true,
-                            true, false)), (String ((Ascii (false, true,
-                            false, false, false, true, true, false)), (String
-                            ((Ascii (true, false, true, false, false, true,
-                            true, false)), (String ((Ascii (false, true,
-                            false, false, true, true, true, false)),
-                            EmptyString))))))))))))))))))))))))))))))))))))))))))))))))))
-                            ((String ((Ascii (false, false, false, false,
-                            true, true, true, false)), (String ((Ascii (true,
-                            false, false, false, false, true, true, false)),
-                            (String ((Ascii (false, true, false, false, true,
-                            true, true, false)), (String ((Ascii (true, true,
-                            false, false, true, true, true, false)), (String
-                            ((Ascii (true, false, true, false, false, true,
-                            true, false)), (String ((Ascii (false, true,
-                            true, true, false, false, true, false)), (String
-                            ((Ascii (true, false, true, false, true, true,
-                            true, false)), (String ((Ascii (true, false,
-                            true, true, false, true, true, false)), (String
-                            ((Ascii (false, true, true, false, false, false,
-                            true, false)), (String ((Ascii (true, false,
-                            false, true, false, true, true, false)), (String
-                            ((Ascii (true, false, true, false, false, true,
-                            true, false)), (String ((Ascii (false, false,
-                            true, true, false, true, true, false)), (String
-                            ((Ascii (false, false, true, false, false, true,
-                            true, false)),
-                            EmptyString)))))))))))))))))))))))))) :: [])) :: [])))))) }
-
-(** val l_Addenda13 : layout **)
-
-let l_Addenda13 =
-  { l_name = (String ((Ascii (true, false, false, false, false, false, true,
-    false)), (String ((Ascii (false, false, true, false, false, true, true,
-    false)), (String ((Ascii (false, false, true, false, false, true, true,
-    false)), (String ((Ascii (true, false, true, false, false, true, true,
-    false)), (String ((Ascii (false, true, true, true, false, true, true,
-    false)), (String ((Ascii (false, false, true, false, false, true, true,
-    false)), (String ((Ascii (true, false, false, false, false, true, true,
-    false)), (String ((Ascii (true, false, false, false, true, true, false,
-    false)), (String ((Ascii (true, true, false, false, true, true, false,
-    false)), EmptyString)))))))))))))))))); l_ix = IRune; l_segs = ((SLit
-    ((Npos (XI (XI (XI (XO (XI XH)))))) :: [])) :: ((SRaw (String ((Ascii
-    (false, false, true, false, true, false, true, false)), (String ((Ascii
-    (true, false, false, true, true, true, true, false)), (String ((Ascii
-    (false, false, false, false, true, true, true, false)), (String ((Ascii
-    (true, false, true, false, false, true, true, false)), (String ((Ascii
-    (true, true, false, false, false, false, true, false)), (String ((Ascii
-    (true, true, true, true, false, true, true, false)), (String ((Ascii
-    (false, false, true, false, false, true, true, false)), (String ((Ascii
-    (true, false, true, false, false, true, true, false)),
-    EmptyString))))))))))))))))) :: ((SAlpha ((String ((Ascii (true, true,
-    true, true, false, false, true, false)), (String ((Ascii (false, false,
-    true, false, false, false, true, false)), (String ((Ascii (false, true,
-    true, false, false, false, true, false)), (String ((Ascii (true, false,
-    false, true, false, false, true, false)), (String ((Ascii (false, true,
-    true, true, false, false, true, false)), (String ((Ascii (true, false,
-    false, false, false, true, true, false)), (String ((Ascii (true, false,
-    true, true, false, true, true, false)), (String ((Ascii (true, false,
-    true, false, false, true, true, false)), EmptyString)))))))))))))))), (S
-    (S (S (S (S (S (S (S (S (S (S (S (S (S (S (S (S (S (S (S (S (S (S (S (S
-    (S (S (S (S (S (S (S (S (S (S
-    O))))))))))))))))))))))))))))))))))))) :: ((SAlpha ((String ((Ascii
-    (true, true, true, true, false, false, true, false)), (String ((Ascii
-    (false, false, true, false, false, false, true, false)), (String ((Ascii
-    (false, true, true, false, false, false, true, false)), (String ((Ascii
-    (true, false, false, true, false, false, true, false)), (String ((Ascii
-    (true, false, false, true, false, false, true, false)), (String ((Ascii
-    (false, false, true, false, false, false, true, false)), (String ((Ascii
-    (false, true, true, true, false, false, true, false)), (String ((Ascii
-    (true, false, true, false, true, true, true, false)), (String ((Ascii
-    (true, false, true, true, false, true, true, false)), (String ((Ascii
-    (false, true, false, false, false, true, true, false)), (String ((Ascii
-    (true, false, true, false, false, true, true, false)), (String ((Ascii
-    (false, true, false, false, true, true, true, false)), (String ((Ascii
-    (true, false, false, false, true, false, true, false)), (String ((Ascii
-    (true, false, true, false, true, true, true, false)), (String ((Ascii
-    (true, false, false, false, false, true, true, false)), (String ((Ascii
-    (false, false, true, true, false, true, true, false)), (String ((Ascii
-    (true, false, false, true, false, true, true, false)), (String ((Ascii
-    (false, true, true, false, false, true, true, false)), (String ((Ascii
-    (true, false, false, true, false, true, true, false)), (String ((Ascii
-    (true, false, true, false, false, true, true, false)), (String ((Ascii
-    (false, true, false, false, true, true, true, false)),
-    EmptyString)))))))))))))))))))))))))))))))))))))))))), (S (S
-    O)))) :: ((SAlpha ((String ((Ascii (true, true, true, true, false, false,
-    true, false)), (String ((Ascii (false, false, true, false, false, false,
-    true, false)), (String ((Ascii (false, true, true, false, false, false,
-    true, false)), (String ((Ascii (true, false, false, true, false, false,
-    true, false)), (String ((Ascii (true, false, false, true, false, false,
-    true, false)), (String ((Ascii (false, false, true, false, false, true,
-    true, false)), (String ((Ascii (true, false, true, false, false, true,
-    true, false)), (String ((Ascii (false, true, true, true, false, true,
-    true, false)), (String ((Ascii (false, false, true, false, true, true,
-    true, false)), (String ((Ascii (true, false, false, true, false, true,
-    true, false)), (String ((Ascii (false, true, true, false, false, true,
-    true, false)), (String ((Ascii (true, false, false, true, false, true,
-    true, false)), (String ((Ascii (true, true, false, false, false, true,
-    true, false)), (String ((Ascii (true, false, false, false, false, true,
-    true, false)), (String ((Ascii (false, false, true, false, true, true,
-    true, false)), (String ((Ascii (true, false, false, true, false, true,
-    true, false)), (String ((Ascii (true, true, true, true, false, true,
-    true, false)), (String ((Ascii (false, true, true, true, false, true,
-    true, false)), EmptyString)))))))))))))))))))))))))))))))))))), (S (S (S
-    (S (S (S (S (S (S (S (S (S (S (S (S (S (S (S (S (S (S (S (S (S (S (S (S
-    (S (S (S (S (S (S (S O)))))))))))))))))))))))))))))))))))) :: ((SAlpha
-    ((String ((Ascii (true, true, true, true, false, false, true, false)),
-    (String ((Ascii (false, false, true, false, false, false, true, false)),
-    (String ((Ascii (false, true, true, false, false, false, true, false)),
-    (String ((Ascii (true, false, false, true, false, false, true, false)),
-    (String ((Ascii (false, true, false, false, false, false, true, false)),
-    (String ((Ascii (false, true, false, false, true, true, true, false)),
-    (String ((Ascii (true, false, false, false, false, true, true, false)),
-    (String ((Ascii (false, true, true, true, false, true, true, false)),
-    (String ((Ascii (true, true, false, false, false, true, true, false)),
-    (String ((Ascii (false, false, false, true, false, true, true, false)),
-    (String ((Ascii (true, true, false, false, false, false, true, false)),
-    (String ((Ascii (true, true, true, true, false, true, true, false)),
-    (String ((Ascii (true, false, true, false, true, true, true, false)),
-    (String ((Ascii (false, true, true, true, false, true, true, false)),
-    (String ((Ascii (false, false, true, false, true, true, true, false)),
-    (String ((Ascii (false, true, false, false, true, true, true, false)),
-    (String ((Ascii (true, false, false, true, true, true, true, false)),
-    (String ((Ascii (true, true, false, false, false, false, true, false)),
-    (String ((Ascii (true, true, true, true, false, true, true, false)),
-    (String ((Ascii (false, false, true, false, false, true, true, false)),
-    (String ((Ascii (true, false, true, false, false, true, true, false)),
-    EmptyString)))))))))))))))))))))))))))))))))))))))))), (S (S (S
-    O))))) :: ((SLit ((Npos (XO (XO (XO (XO (XO XH)))))) :: ((Npos (XO (XO
-    (XO (XO (XO XH)))))) :: ((Npos (XO (XO (XO (XO (XO XH)))))) :: ((Npos (XO
-    (XO (XO (XO (XO XH)))))) :: ((Npos (XO (XO (XO (XO (XO XH)))))) :: ((Npos
-    (XO (XO (XO (XO (XO XH)))))) :: ((Npos (XO (XO (XO (XO (XO
-    XH)))))) :: ((Npos (XO (XO (XO (XO (XO XH)))))) :: ((Npos (XO (XO (XO (XO
-    (XO XH)))))) :: ((Npos (XO (XO (XO (XO (XO
-    XH)))))) :: []))))))))))) :: ((SNum ((String ((Ascii (true, false, true,
-    false, false, false, true, false)), (String ((Ascii (false, true, true,
-    true, false, true, true, false)), (String ((Ascii (false, false, true,
-    false, true, true, true, false)), (String ((Ascii (false, true, false,
-    false, true, true, true, false)), (String ((Ascii (true, false, false,
-    true, true, true, true, false)), (String ((Ascii (false, false, true,
-    false, false, false, true, false)), (String ((Ascii (true, false, true,
-    false, false, true, true, false)), (String ((Ascii (false, false, true,
-    false, true, true, true, false)), (String ((Ascii (true, false, false,
-    false, false, true, true, false)), (String ((Ascii (true, false, false,
-    true, false, true, true, false)), (String ((Ascii (false, false, true,
-    true, false, true, true, false)), (String ((Ascii (true, true, false,
-    false, true, false, true, false)), (String ((Ascii (true, false, true,
-    false, false, true, true, false)), (String ((Ascii (true, false, false,
-    false, true, true, true, false)), (String ((Ascii (true, false, true,
-    false, true, true, true, false)), (String ((Ascii (true, false, true,
-    false, false, true, true, false)), (String ((Ascii (false, true, true,
-    true, false, true, true, false)), (String ((Ascii (true, true, false,
-    false, false, true, true, false)), (String ((Ascii (true, false, true,
-    false, false, true, true, false)), (String ((Ascii (false, true, true,
-    true, false, false, true, false)), (String ((Ascii (true, false, true,
-    false, true, true, true, false)), (String ((Ascii (true, false, true,
-    true, false, true, true, false)), (String ((Ascii (false, true, false,
-    false, false, true, true, false)), (String ((Ascii (true, false, true,
-    false, false, true, true, false)), (String ((Ascii (false, true, false,
-    false, true, true, true, false)),
-    EmptyString)))))))))))))))))))))))))))))))))))))))))))))))))), (S (S (S
-    (S (S (S (S O))))))))) :: [])))))))); l_cuts =
-    ((mkcut O (S O) EmptyString []) :: ((mkcut (S O) (S (S (S O))) (String
-                                          ((Ascii (false, false, true, false,
-                                          true, false, true, false)), (String
-                                          ((Ascii (true, false, false, true,
-                                          true, true, true, false)), (String
-                                          ((Ascii (false, false, false,
-                                          false, true, true, true, false)),
-                                          (String ((Ascii (true, false, true,
-                                          false, false, true, true, false)),
-                                          (String ((Ascii (true, true, false,
-                                          false, false, false, true, false)),
-                                          (String ((Ascii (true, true, true,
-                                          true, false, true, true, false)),
-                                          (String ((Ascii (false, false,
-                                          true, false, false, true, true,
-                                          false)), (String ((Ascii (true,
-                                          false, true, false, false, true,
-                                          true, false)),
-                                          EmptyString)))))))))))))))) []) :: (
-    (mkcut (S (S (S O))) (S (S (S (S (S (S (S (S (S (S (S (S (S (S (S (S (S
-      (S (S (S (S (S (S (S (S (S (S (S (S (S (S (S (S (S (S (S (S (S
-      O)))))))))))))))))))))))))))))))))))))) (String ((Ascii (true, true,
-      true, true, false, false, true, false)), (String ((Ascii (false, false,
-      true, false, false, false, true, false)), (String ((Ascii (false, true,
-      true, false, false, false, true, false)), (String ((Ascii (true, false,
-      false, true, false, false, true, false)), (String ((Ascii (false, true,
-      true, true, false, false, true, false)), (String ((Ascii (true, false,
-      false, false, false, true, true, false)), (String ((Ascii (true, false,
-      true, true, false, true, true, false)), (String ((Ascii (true, false,
-      true, false, false, true, true, false)), EmptyString))))))))))))))))
-      ((String ((Ascii (true, true, false, false, true, true, true, false)),
-      (String ((Ascii (false, false, true, false, true, true, true, false)),
-      (String ((Ascii (false, true, false, false, true, true, true, false)),
-      (String ((Ascii (true, false, false, true, false, true, true, false)),
-      (String ((Ascii (false, true, true, true, false, true, true, false)),
-      (String ((Ascii (true, true, true, false, false, true, true, false)),
-      (String ((Ascii (true, true, false, false, true, true, true, false)),
-      (String ((Ascii (false, true, true, true, false, true, false, false)),
-      (String ((Ascii (false, false, true, false, true, false, true, false)),
-      (String ((Ascii (false, true, false, false, true, true, true, false)),
-      (String ((Ascii (true, false, false, true, false, true, true, false)),
-      (String ((Ascii (true, false, true, true, false, true, true, false)),
-      (String ((Ascii (true, true, false, false, true, false, true, false)),
-      (String ((Ascii (false, false, false, false, true, true, true, false)),
-      (String ((Ascii (true, false, false, false, false, true, true, false)),
-      (String ((Ascii (true, true, false, false, false, true, true, false)),
-      (String ((Ascii (true, false, true, false, false, true, true, false)),
-      EmptyString)))))))))))))))))))))))))))))))))) :: [])) :: ((mkcut (S (S
-                                                                  (S (S (S (S
-                                                                  (S (S (S (S
-                                                                  (S (S (S (S
-                                                                  (S (S (S (S
-                                                                  (S (S (S (S
-                                                                  (S (S (S (S
-                                                                  (S (S (S (S
-                                                                  (S (S (S (S
-                                                                  (S (S (S (S
-                                                                  O))))))))))))))))))))))))))))))))))))))
-                                                                  (S (S (S (S
-                                                                  (S (S (S (S
-                                                                  (S (S (S (S
-                                                                  (S (S (S (S
-                                                                  (S (S (S (S
-                                                                  (S (S (S (S
-                                                                  (S (S (S (S
-                                                                  (S (S (S (S
-                                                                  (S (S (S (S
-                                                                  (S (S (S (S
-                                                                  O))))))))))))))))))))))))))))))))))))))))
-                                                                  (String
-                                                                  ((Ascii
-                                                                  (true,
-                                                                  true, true,
-                                                                  true,
-                                                                  false,
-                                                                  false,
-                                                                  true,
-                                                                  false)),
-                                                                  (String
-                                                                  ((Ascii
-                                                                  (false,
-                                                                  false,
-                                                                  true,
-                                                                  false,
-                                                                  false,
-                                                                  false,
-                                                                  true,
-                                                                  false)),
-                                                                  (String
-                                                                  ((Ascii
-                                                                  (false,
-                                                                  true, true,
-                                                                  false,
-                                                                  false,
-                                                                  false,
-                                                                  true,
-                                                                  false)),
-                                                                  (String
-                                                                  ((Ascii
-                                                                  (true,
-                                                                  false,
-                                                                  false,
-                                                                  true,
-                                                                  false,
-                                                                  false,
-                                                                  true,
-                                                                  false)),
-                                                                  (String
-                                                                  ((Ascii
-                                                                  (true,
-                                                                  false,
-                                                                  false,
-                                                                  true,
-                                                                  false,
-                                                                  false,
-                                                                  true,
-                                                                  false)),
-                                                                  (String
-                                                                  ((Ascii
-                                                                  (false,
-                                                                  false,
-                                                                  true,
-                                                                  false,
-                                                                  false,
-                                                                  false,
-                                                                  true,
-                                                                  false)),
-                                                                  (String
-                                                                  ((Ascii
-                                                                  (false,
-                                                                  true, true,
-                                                                  true,
-                                                                  false,
-                                                                  false,
-                                                                  true,
-                                                                  false)),
-                                                                  (String
-                                                                  ((Ascii
-                                                                  (true,
-                                                                  false,
-                                                                  true,
-                                                                  false,
-                                                                  true, true,
-                                                                  true,
-                                                                  false)),
-                                                                  (String
-                                                                  ((Ascii
-                                                                  (true,
-                                                                  false,
-                                                                  true, true,
-                                                                  false,
-                                                                  true, true,
-                                                                  false)),
-                                                                  (String
-                                                                  ((Ascii
-                                                                  (false,
-                                                                  true,
-                                                                  false,
-                                                                  false,
-                                                                  false,
-                                                                  true, true,
-                                                                  false)),
-                                                                  (String
-                                                                  ((Ascii
-                                                                  (true,
-                                                                  false,
-                                                                  true,
-                                                                  false,
-                                                                  false,
-                                                                  true, true,
-                                                                  false)),
-                                                                  (String
-                                                                  ((Ascii
-                                                                  (false,
-                                                                  true,
-                                                                  false,
-                                                                  false,
-                                                                  true, true,
-                                                                  true,
-                                                                  false)),
-                                                                  (String
-                                                                  ((Ascii
-                                                                  (true,
-                                                                  false,
-                                                                  false,
-                                                                  false,
-                                                                  true,
-                                                                  false,
-                                                                  true,
-                                                                  false)),
-                                                                  (String
-                                                                  ((Ascii
-                                                                  (true,
-                                                                  false,
-                                                                  true,
-                                                                  false,
-                                                                  true, true,
-                                                                  true,
-                                                                  false)),
-                                                                  (String
-                                                                  ((Ascii
-                                                                  (true,
-                                                                  false,
-                                                                  false,
-                                                                  false,
-                                                                  false,
-                                                                  true, true,
-                                                                  false)),
-                                                                  (String
-                                                                  ((Ascii
-                                                                  (false,
-                                                                  false,
-                                                                  true, true,
-                                                                  false,
-                                                                  true, true,
-                                                                  false)),
-                                                                  (String
-                                                                  ((Ascii
-                                                                  (true,
-                                                                  false,
-                                                                  false,
-                                                                  true,
-                                                                  false,
-                                                                  true, true,
-                                                                  false)),
-                                                                  (String
-                                                                  ((Ascii
-                                                                  (false,
-                                                                  true, true,
-                                                                  false,
-                                                                  false,
-                                                                  true, true,
-                                                                  false)),
-                                                                  (String
-                                                                  ((Ascii
-                                                                  (true,
-                                                                  false,
-                                                                  false,
-                                                                  true,
-                                                                  false,
-                                                                  true, true,
-                                                                  false)),
-                                                                  (String
-                                                                  ((Ascii
-                                                                  (true,
-                                                                  false,
-                                                                  true,
-                                                                  false,
-                                                                  false,
-                                                                  true, true,
-                                                                  false)),
-                                                                  (String
-                                                                  ((Ascii
-                                                                  (false,
-                                                                  true,
-                                                                  false,
-                                                                  false,
-                                                                  true, true,
-                                                                  true,
-                                                                  false)),
-                                                                  EmptyString))))))))))))))))))))))))))))))))))))))))))
-                                                                  []) :: (
-    (mkcut (S (S (S (S (S (S (S (S (S (S (S (S (S (S (S (S (S (S (S (S (S (S
-      (S (S (S (S (S (S (S (S (S (S (S (S (S (S (S (S (S (S
-      O)))))))))))))))))))))))))))))))))))))))) (S (S (S (S (S (S (S (S (S (S
-      (S (S (S (S (S (S (S (S (S (S (S (S (S (S (S (S (S (S (S (S (S (S (S (S
-      (S (S (S (S (S (S (S (S (S (S (S (S (S (S (S (S (S (S (S (S (S (S (S (S
-      (S (S (S (S (S (S (S (S (S (S (S (S (S (S (S (S
-      O))))))))))))))))))))))))))))))))))))))))))))))))))))))))))))))))))))))))))
-      (String ((Ascii (true, true, true, true, false, false, true, false)),
-      (String ((Ascii (false, false, true, false, false, false, true,
-      false)), (String ((Ascii (false, true, true, false, false, false, true,
-      false)), (String ((Ascii (true, false, false, true, false, false, true,
-      false)), (String ((Ascii (true, false, false, true, false, false, true,
-      false)), (String ((Ascii (false, false, true, false, false, true, true,
-      false)), (String ((Ascii (true, false, true, false, false, true, true,
-      false)), (String ((Ascii (false, true, true, true, false, true, true,
-      false)), (String ((Ascii (false, false, true, false, true, true, true,
-      false)), (String ((Ascii (true, false, false, true, false, true, true,
-      false)), (String ((Ascii (false, true, true, false, false, true, true,
-      false)), (String ((Ascii (true, false, false, true, false, true, true,
-      false)), (String ((Ascii (true, true, false, false, false, true, true,
-      false)), (String ((Ascii (true, false, false, false, false, true, true,
-      false)), (String ((Ascii (false, false, true, false, true, true, true,
-      false)), (String ((Ascii (true, false, false, true, false, true, true,
-      false)), (String ((Ascii (true, true, true, true, false, true, true,
-      false)), (String ((Ascii (false, true, true, true, false, true, true,
-      false)), EmptyString)))))))))))))))))))))))))))))))))))) ((String
-      ((Ascii (false, false, false, false, true, true, true, false)), (String
-      ((Ascii (true, false, false, false, false, true, true, false)), (String
-      ((Ascii (false, true, false, false, true, true, true, false)), (String
-      ((Ascii (true, true, false, false, true, true, true, false)), (String
-      ((Ascii (true, false, true, false, false, true, true, false)), (String
-      ((Ascii (true, true, false, false, true, false, true, false)), (String
-      ((Ascii (false, false, true, false, true, true, true, false)), (String
-      ((Ascii (false, true, false, false, true, true, true, false)), (String
-      ((Ascii (true, false, false, true, false, true, true, false)), (String
-      ((Ascii (false, true, true, true, false, true, true, false)), (String
-      ((Ascii (true, true, true, false, false, true, true, false)), (String
-      ((Ascii (false, true, true, false, false, false, true, false)), (String
-      ((Ascii (true, false, false, true, false, true, true, false)), (String
-      ((Ascii (true, false, true, false, false, true, true, false)), (String
-      ((Ascii (false, false, true, true, false, true, true, false)), (String
-      ((Ascii (false, false, true, false, false, true, true, false)),
-      EmptyString)))))))))))))))))))))))))))))))) :: [])) :: ((mkcut (S (S (S
-                                                                (S (S (S (S
-                                                                (S (S (S (S
-                                                                (S (S (S (S
-                                                                (S (S (S (S
-                                                                (S (S (S (S
-                                                                (S (S (S (S
-                                                                (S (S (S (S
-                                                                (S (S (S (S
-                                                                (S (S (S (S
-                                                                (S (S (S (S
-                                                                (S (S (S (S
-                                                                (S (S (S (S
-                                                                (S (S (S (S
-                                                                (S (S (S (S
-                                                                (S (S (S (S
-                                                                (S (S (S (S
-                                                                (S (S (S (S
-                                                                (S (S (S
-                                                                O))))))))))))))))))))))))))))))))))))))))))))))))))))))))))))))))))))))))))
-                                                                (S (S (S (S
-                                                                (S (S (S (S
-                                                                (S (S (S (S
-                                                                (S (S (S (S
-                                                                (S (S (S (S
-                                                                (S (S (S (S
-                                                                (S (S (S (S
-                                                                (S (S (S (S
-                                                                (S (S (S (S
-                                                                (S (S (S (S
-                                                                (S (S (S (S
-                                                                (S (S (S (S
-                                                                (S (S (S (S
-                                                                (S (S (S (S
-                                                                (S (S (S (S
-                                                                (S (S (S (S
-                                                                (S (S (S (S
-                                                                (S (S (S (S
-                                                                (S (S (S (S
-                                                                (S
-                                                                O)))))))))))))))))))))))))))))))))))))))))))))))))))))))))))))))))))))))))))))
-                                                                (String
-                                                                ((Ascii
-                                                                (true, true,
-                                                                true, true,
-                                                                false, false,
-                                                                true,
-                                                                false)),
-                                                                (String
-                                                                ((Ascii
-                                                                (false,
-                                                                false, true,
-                                                                false, false,
-                                                                false, true,
-                                                                false)),
-                                                                (String
-                                                                ((Ascii
-                                                                (false, true,
-                                                                true, false,
-                                                                false, false,
-                                                                true,
-                                                                false)),
-                                                                (String
-                                                                ((Ascii
-                                                                (true, false,
-                                                                false, true,
-                                                                false, false,
-                                                                true,
-                                                                false)),
-                                                                (String
-                                                                ((Ascii
-                                                                (false, true,
-                                                                false, false,
-                                                                false, false,
-                                                                true,
-                                                                false)),
-                                                                (String
-                                                                ((Ascii
-                                                                (false, true,
-                                                                false, false,
-                                                                true, true,
-                                                                true,
-                                                                false)),
-                                                                (String
-                                                                ((Ascii
-                                                                (true, false,
-                                                                false, false,
-                                                                false, true,
-                                                                true,
-                                                                false)),
-                                                                (String
-                                                                ((Ascii
-                                                                (false, true,
-                                                                true, true,
-                                                                false, true,
-                                                                true,
-                                                                false)),
-                                                                (String
-                                                                ((Ascii
-                                                                (true, true,
-                                                                false, false,
-                                                                false, true,
-                                                                true,
-                                                                false)),
-                                                                (String
-                                                                ((Ascii
-                                                                (false,
-                                                                false, false,
-                                                                true, false,
-                                                                true, true,
-                                                                false)),
-                                                                (String
-                                                                ((Ascii
-                                                                (true, true,
-                                                                false, false,
-                                                                false, false,
-                                                                true,
-                                                                false)),
-                                                                (String
-                                                                ((Ascii
-                                                                (true, true,
-                                                                true, true,
-                                                                false, true,
-                                                                true,
-                                                                false)),
-                                                                (String
-                                                                ((Ascii
-                                                                (true, false,
-                                                                true, false,
-                                                                true, true,
-                                                                true,
-                                                                false)),
-                                                                (String
-                                                                ((Ascii
-                                                                (false, true,
-                                                                true, true,
-                                                                false, true,
-                                                                true,
-                                                                false)),
-                                                                (String
-                                                                ((Ascii
-                                                                (false,
-                                                                false, true,
-                                                                false, true,
-                                                                true, true,
-                                                                false)),
-                                                                (String
-                                                                ((Ascii
-                                                                (false, true,
-                                                                false, false,
-                                                                true, true,
-                                                                true,
-                                                                false)),
-                                                                (String
-                                                                ((Ascii
-                                                                (true, false,
-                                                                false, true,
-                                                                true, true,
-                                                                true,
-                                                                false)),
-                                                                (String
-                                                                ((Ascii
-                                                                (true, true,
-                                                                false, false,
-                                                                false, false,
-                                                                true,
-                                                                false)),
-                                                                (String
-                                                                ((Ascii
-                                                                (true, true,
-                                                                true, true,
-                                                                false, true,
-                                                                true,
-                                                                false)),
-                                                                (String
-                                                                ((Ascii
-                                                                (false,
-                                                                false, true,
-                                                                false, false,
-                                                                true, true,
-                                                                false)),
-                                                                (String
-                                                                ((Ascii
-                                                                (true, false,
-                                                                true, false,
-                                                                false, true,
-                                                                true,
-                                                                false)),
-                                                                EmptyString))))))))))))))))))))))))))))))))))))))))))
-                                                                ((String
-                                                                ((Ascii
-                                                                (true, true,
-                                                                false, false,
-                                                                true, true,
-                                                                true,
-                                                                false)),
-                                                                (String
-                                                                ((Ascii
-                                                                (false,
-                                                                false, true,
-                                                                false, true,
-                                                                true, true,
-                                                                false)),
-                                                                (String
-                                                                ((Ascii
-                                                                (false, true,
-                                                                false, false,
-                                                                true, true,
-                                                                true,
-                                                                false)),
-                                                                (String
-                                                                ((Ascii
-                                                                (true, false,
-                                                                false, true,
-                                                                false, true,
-                                                                true,
-                                                                false)),
-                                                                (String
-                                                                ((Ascii
-                                                                (false, true,
-                                                                true, true,
-                                                                false, true,
-                                                                true,
-                                                                false)),
-                                                                (String
-                                                                ((Ascii
-                                                                (true, true,
-                                                                true, false,
-                                                                false, true,
-                                                                true,
-                                                                false)),
-                                                                (String
-                                                                ((Ascii
-                                                                (true, true,
-                                                                false, false,
-                                                                true, true,
-                                                                true,
-                                                                false)),
-                                                                (String
-                                                                ((Ascii
-                                                                (false, true,
-                                                                true, true,
-                                                                false, true,
-                                                                false,
-                                                                false)),
-                                                                (String
-                                                                ((Ascii
-                                                                (false,
-                                                                false, true,
-                                                                false, true,
-                                                                false, true,
-                                                                false)),
-                                                                (String
-                                                                ((Ascii
-                                                                (false, true,
-                                                                false, false,
-                                                                true, true,
-                                                                true,
-                                                                false)),
-                                                                (String
-                                                                ((Ascii
-                                                                (true, false,
-                                                                false, true,
-                                                                false, true,
-                                                                true,
-                                                                false)),
-                                                                (String
-                                                                ((Ascii
-                                                                (true, false,
-                                                                true, true,
-                                                                false, true,
-                                                                true,
-                                                                false)),
-                                                                (String
-                                                                ((Ascii
-                                                                (true, true,
-                                                                false, false,
-                                                                true, false,
-                                                                true,
-                                                                false)),
-                                                                (String
-                                                                ((Ascii
-                                                                (false,
-                                                                false, false,
-                                                                false, true,
-                                                                true, true,
-                                                                false)),
-                                                                (String
-                                                                ((Ascii
-                                                                (true, false,
-                                                                false, false,
-                                                                false, true,
-                                                                true,
-                                                                false)),
-                                                                (String
-                                                                ((Ascii
-                                                                (true, true,
-                                                                false, false,
-                                                                false, true,
-                                                                true,
-                                                                false)),
-                                                                (String
-                                                                ((Ascii
-                                                                (true, false,
-                                                                true, false,
-                                                                false, true,
-                                                                true,
-                                                                false)),
-                                                                EmptyString)))))))))))))))))))))))))))))))))) :: [])) :: (
-    (mkcut (S (S (S (S (S (S (S (S (S (S (S (S (S (S (S (S (S (S (S (S (S (S
-      (S (S (S (S (S (S (S (S (S (S (S (S (S (S (S (S (S (S (S (S (S (S (S (S
-      (S (S (S (S (S (S (S (S (S (S (S (S (S (S (S (S (S (S (S (S (S (S (S (S
-      (S (S (S (S (S (S (S
-      O)))))))))))))))))))))))))))))))))))))))))))))))))))))))))))))))))))))))))))))
-      (S (S (S (S (S (S (S (S (S (S (S (S (S (S (S (S (S (S (S (S (S (S (S (S
-      (S (S (S (S (S (S (S (S (S (S (S (S (S (S (S (S (S (S (S (S (S (S (S (S
-      (S (S (S (S (S (S (S (S (S (S (S (S (S (S (S (S (S (S (S (S (S (S (S (S
-      (S (S (S (S (S (S (S (S (S (S (S (S (S (S (S
-      O)))))))))))))))))))))))))))))))))))))))))))))))))))))))))))))))))))))))))))))))))))))))
-      EmptyString []) :: ((mkcut (S (S (S (S (S (S (S (S (S (S (S (S (S (S (S
-                            (S (S (S (S (S (S (S (S (S (S (S (S (S (S (S (S
-                            (S (S (S (S (S (S (S (S (S (S (S (S (S (S (S (S
-                            (S (S (S (S (S (S (S (S (S (S (S (S (S (S (S (S
-                            (S (S (S (S (S (S (S (S (S (S (S (S (S (S (S (S
-                            (S (S (S (S (S (S (S (S
-                            O)))))))))))))))))))))))))))))))))))))))))))))))))))))))))))))))))))))))))))))))))))))))
-                            (S (S (S (S (S (S (S (S (S (S (S (S (S (S (S (S
-                            (S (S (S (S (S (S (S (S (S (S (S (S (S (S (S (S
-                            (S (S (S (S (S (S (S (S (S (S (S (S (S (S (S (S
-                            (S (S (S (S (S (S (S (S (S (S (S (S (S (S (S (S
-                            (S (S (S (S (S (S (S (S (S (S (S (S (S (S (S (S
-                            (S (S (S (S (S (S (S (S (S (S (S (S (S (S
-                            O))))))))))))))))))))))))))))))))))))))))))))))))))))))))))))))))))))))))))))))))))))))))))))))
-                            (String ((Ascii (true, false, true, false, false,
-                            false, true, false)), (String ((Ascii (false,
-                            true, true, true, false, true, true, false)),
-                            (String ((Ascii (false, false, true, false, true,
-                            true, true, false)), (String ((Ascii (false,
-                            true, false, false, true, true, true, false)),
-                            (String ((Ascii (true, false, false, true, true,
-                            true, true, false)), (String ((Ascii (false,
-                            false, true, false, false, false, true, false)),
-                            (String ((Ascii (true, false, true, false, false,
-                            true, true, false)), (String ((Ascii (false,
-                            false, true, false, true, true, true, false)),
-                            (String ((Ascii (true, false, false, false,
-                            false, true, true, false)), (String ((Ascii
-                            (true, false, false, true, false, true, true,
-                            false)), (String ((Ascii (false, false, true,
-                            true, false, true, true, false)), (String ((Ascii
-                            (true, true, false, false, true, false, true,
-                            false)), (String ((Ascii (true, false, true,
-                            false, false, true, true, false)), (String
-                            ((Ascii (true, false, false, false, true, true,
-                            true, false)), (String ((Ascii (true, false,
-                            true, false, true, true, true, false)), (String
-                            ((Ascii (true, false, true, false, false, true,
-                            true, false)), (String ((Ascii (false, true,
-                            true, true, false, true, true, false)), (String
-                            ((Ascii (true, true, false, false, false, true,
-                            true, false)), (String ((Ascii (true, false,
-                            true, false, false, true, true, false)), (String
-                            ((Ascii (false, true, true, true, false, false,
-                            true, false)), (String ((Ascii (true, false,
-                            true, false, true, true, true, false)), (String
-                            ((Ascii (true, false, true, true, false, true,
-                            true, false)), (String ((Ascii (false, true,
-                            false, false, false, true, true, false)), (String
-                            ((Ascii (true, false, true, false, false, true,
-                            true, false)), (String ((Ascii (false, true,
-                            false, false, true, true, true, false)),
-                            EmptyString))))))))))))))))))))))))))))))))))))))))))))))))))
-                            ((String ((Ascii (false, false, false, false,
-                            true, true, true, false)), (String ((Ascii (true,
-                            false, false, false, false, true, true, false)),
-                            (String ((Ascii (false, true, false, false, true,
-                            true, true, false)), (String ((Ascii (true, true,
-                            false, false, true, true, true, false)), (String
-                            ((Ascii (true, false, true, false, false, true,
-                            true, false)), (String ((Ascii (false, true,
-                            true, true, false, false, true, false)), (String
-                            ((Ascii (true, false, true, false, true, true,
-                            true, false)), (String ((Ascii (true, false,
-                            true, true, false, true, true, false)), (String
-                            ((Ascii (false, true, true, false, false, false,
-                            true, false)), (String ((Ascii (true, false,
-                            false, true, false, true, true, false)), (String
-                            ((Ascii (true, false, true, false, false, true,
-                            true, false)), (String ((Ascii (false, false,
-                            true, true, false, true, true, false)), (String
-                            ((Ascii (false, false, true, false, false, true,
-                            true, false)),
-                            EmptyString)))))))))))))))))))))))))) :: [])) :: [])))))))) }
-
-(** val l_Addenda14 : layout **)
-
-let l_Addenda14 =
-  { l_name = (String ((Ascii (true, false, false, false, false, false, true,
-    false)), (String ((Ascii (false, false, true, false, false, true, true,
-    false)), (String ((Ascii (false, false, true, false, false, true, true,
-    false)), (String ((Ascii (true, false, true, false, false, true, true,
-    false)), (String ((Ascii (false, true, true, true, false, true, true,
-    false)), (String ((Ascii (false, false, true, false, false, true, true,
-    false)), (String ((Ascii (true, false, false, false, false, true, true,
-    false)), (String ((Ascii (true, false, false, false, true, true, false,
-    false)), (String ((Ascii (false, false, true, false, true, true, false,
-    false)), EmptyString)))))))))))))))))); l_ix = IRune; l_segs = ((SLit
-    ((Npos (XI (XI (XI (XO (XI XH)))))) :: [])) :: ((SRaw (String ((Ascii
-    (false, false, true, false, true, false, true, false)), (String ((Ascii
-    (true, false, false, true, true, true, true, false)), (String ((Ascii
-    (false, false, false, false, true, true, true, false)), (String ((Ascii
-    (true, false, true, false, false, true, true, false)), (String ((Ascii
-    (true, true, false, false, false, false, true, false)), (String ((Ascii
-    (true, true, true, true, false, true, true, false)), (String ((Ascii
-    (false, false, true, false, false, true, true, false)), (String ((Ascii
-    (true, false, true, false, false, true, true, false)),
-    EmptyString))))))))))))))))) :: ((SAlpha ((String ((Ascii (false, true,
-    false, false, true, false, true, false)), (String ((Ascii (false, false,
-    true, false, false, false, true, false)), (String ((Ascii (false, true,
-    true, false, false, false, true, false)), (String ((Ascii (true, false,
-    false, true, false, false, true, false)), (String ((Ascii (false, true,
-    true, true, false, false, true, false)), (String ((Ascii (true, false,
-    false, false, false, true, true, false)), (String ((Ascii (true, false,
-    true, true, false, true, true, false)), (String ((Ascii (true, false,
-    true, false, false, true, true, false)), EmptyString)))))))))))))))), (S
-    (S (S (S (S (S (S (S (S (S (S (S (S (S (S (S (S (S (S (S (S (S (S (S (S
-    (S (S (S (S (S (S (S (S (S (S
-    O))))))))))))))))))))))))))))))))))))) :: ((SAlpha ((String ((Ascii
-    (false, true, false, false, true, false, true, false)), (String ((Ascii
-    (false, false, true, false, false, false, true, false)), (String ((Ascii
-    (false, true, true, false, false, false, true, false)), (String ((Ascii
-    (true, false, false, true, false, false, true, false)), (String ((Ascii
-    (true, false, false, true, false, false, true, false)), (String ((Ascii
-    (false, false, true, false, false, false, true, false)), (String ((Ascii
-    (false, true, true, true, false, false, true, false)), (String ((Ascii
-    (true, false, true, false, true, true, true, false)), (String ((Ascii
-    (true, false, true, true, false, true, true, false)), (String ((Ascii
-    (false, true, false, false, false, true, true, false)), (String ((Ascii
-    (true, false, true, false, false, true, true, false)), (String ((Ascii
-    (false, true, false, false, true, true, true, false)), (String ((Ascii
-    (true, false, false, false, true, false, true, false)), (String ((Ascii
-    (true, false, true, false, true, true, true, false)), (String ((Ascii
-    (true, false, false, false, false, true, true, false)), (String ((Ascii
-    (false, false, true, true, false, true, true, false)), (String ((Ascii
-    (true, false, false, true, false, true, true, false)), (String ((Ascii
-    (false, true, true, false, false, true, true, false)), (String ((Ascii
-    (true, false, false, true, false, true, true, false)), (String ((Ascii
-    (true, false, true, false, false, true, true, false)), (String ((Ascii
-    (false, true, false, false, true, true, true, false)),
-    EmptyString)))))))))))))))))))))))))))))))))))))))))), (S (S
-    O)))) :: ((SAlpha ((String ((Ascii (false, true, false, false, true,
-    false, true, false)), (String ((Ascii (false, false, true, false, false,
-    false, true, false)), (String ((Ascii (false, true, true, false, false,
-    false, true, false)), (String ((Ascii (true, false, false, true, false,
-    false, true, false)), (String ((Ascii (true, false, false, true, false,
-    false, true, false)), (String ((Ascii (false, false, true, false, false,
-    true, true, false)), (String ((Ascii (true, false, true, false, false,
-    true, true, false)), (String ((Ascii (false, true, true, true, false,
-    true, true, false)), (String ((Ascii (false, false, true, false, true,
-    true, true, false)), (String ((Ascii (true, false, false, true, false,
-    true, true, false)), (String ((Ascii (false, true, true, false, false,
-    true, true, false)), (String ((Ascii (true, false, false, true, false,
-    true, true, false)), (String ((Ascii (true, true, false, false, false,
-    true, true, false)), (String ((Ascii (true, false, false, false, false,
-    true, true, false)), (String ((Ascii (false, false, true, false, true,
-    true, true, false)), (String ((Ascii (true, false, false, true, false,
-    true, true, false)), (String ((Ascii (true, true, true, true, false,
-    true, true, false)), (String ((Ascii (false, true, true, true, false,
-    true, true, false)), EmptyString)))))))))))))))))))))))))))))))))))), (S
-    (S (S (S (S (S (S (S (S (S (S (S (S (S (S (S (S (S (S (S (S (S (S (S (S
-    (S (S (S (S (S (S (S (S (S
-    O)))))))))))))))))))))))))))))))))))) :: ((SAlpha ((String ((Ascii
-    (false, true, false, false, true, false, true, false)), (String ((Ascii
-    (false, false, true, false, false, false, true, false)), (String ((Ascii
-    (false, true, true, false, false, false, true, false)), (String ((Ascii
-    (true, false, false, true, false, false, true, false)), (String ((Ascii
-    (false, true, false, false, false, false, true, false)), (String ((Ascii
-    (false, true, false, false, true, true, true, false)), (String ((Ascii
-    (true, false, false, false, false, true, true, false)), (String ((Ascii
-    (false, true, true, true, false, true, true, false)), (String ((Ascii
-    (true, true, false, false, false, true, true, false)), (String ((Ascii
-    (false, false, false, true, false, true, true, false)), (String ((Ascii
-    (true, true, false, false, false, false, true, false)), (String ((Ascii
-    (true, true, true, true, false, true, true, false)), (String ((Ascii
-    (true, false, true, false, true, true, true, false)), (String ((Ascii
-    (false, true, true, true, false, true, true, false)), (String ((Ascii
-    (false, false, true, false, true, true, true, false)), (String ((Ascii
-    (false, true, false, false, true, true, true, false)), (String ((Ascii
-    (true, false, false, true, true, true, true, false)), (String ((Ascii
-    (true, true, false, false, false, false, true, false)), (String ((Ascii
-    (true, true, true, true, false, true, true, false)), (String ((Ascii
-    (false, false, true, false, false, true, true, false)), (String ((Ascii
-    (true, false, true, false, false, true, true, false)),
-    EmptyString)))))))))))))))))))))))))))))))))))))))))), (S (S (S
-    O))))) :: ((SLit ((Npos (XO (XO (XO (XO (XO XH)))))) :: ((Npos (XO (XO
-    (XO (XO (XO XH)))))) :: ((Npos (XO (XO (XO (XO (XO XH)))))) :: ((Npos (XO
-    (XO (XO (XO (XO XH)))))) :: ((Npos (XO (XO (XO (XO (XO XH)))))) :: ((Npos
-    (XO (XO (XO (XO (XO XH)))))) :: ((Npos (XO (XO (XO (XO (XO
-    XH)))))) :: ((Npos (XO (XO (XO (XO (XO XH)))))) :: ((Npos (XO (XO (XO (XO
-    (XO XH)))))) :: ((Npos (XO (XO (XO (XO (XO
-    XH)))))) :: []))))))))))) :: ((SNum ((String ((Ascii (true, false, true,
-    false, false, false, true, false)), (String ((Ascii (false, true, true,
-    true, false, true, true, false)), (String ((Ascii (false, false, true,
-    false, true, true, true, false)), (String ((Ascii (false, true, false,
-    false, true, true, true, false)), (String ((Ascii (true, false, false,
-    true, true, true, true, false)), (String ((Ascii (false, false, true,
-    false, false, false, true, false)), (String ((Ascii (true, false, true,
-    false, false, true, true, false)), (String ((Ascii (false, false, true,
-    false, true, true, true, false)), (String ((Ascii (true, false, false,
-    false, false, true, true, false)), (String ((Ascii (true, false, false,
-    true, false, true, true, false)), (String ((Ascii (false, false, true,
-    true, false, true, true, false)), (String ((Ascii (true, true, false,
-    false, true, false, true, false)), (String ((Ascii (true, false, true,
-    false, false, true, true, false)), (String ((Ascii (true, false, false,
-    false, true, true, true, false)), (String ((Ascii (true, false, true,
-    false, true, true, true, false)), (String ((Ascii (true, false, true,
-    false, false, true, true, false)), (String ((Ascii (false, true, true,
-    true, false, true, true, false)), (String ((Ascii (true, true, false,
-    false, false, true, true, false)), (String ((Ascii (true, false, true,
-    false, false, true, true, false)), (String ((Ascii (false, true, true,
-    true, false, false, true, false)), (String ((Ascii (true, false, true,
-    false, true, true, true, false)), (String ((Ascii (true, false, true,
-    true, false, true, true, false)), (String ((Ascii (false, true, false,
-    false, false, true, true, false)), (String ((Ascii (true, false, true,
-    false, false, true, true, false)), (String ((Ascii (false, true, false,
-    false, true, true, true, false)),
-    EmptyString)))))))))))))))))))))))))))))))))))))))))))))))))), (S (S (S
-    (S (S (S (S O))))))))) :: [])))))))); l_cuts =
-    ((mkcut O (S O) EmptyString []) :: ((mkcut (S O) (S (S (S O))) (String
-                                          ((Ascii (false, false, true, false,
-                                          true, false, true, false)), (String
-                                          ((Ascii (true, false, false, true,
-                                          true, true, true, false)), (String
-                                          ((Ascii (false, false, false,
-                                          false, true, true, true, false)),
-                                          (String ((Ascii (true, false, true,
-                                          false, false, true, true, false)),
-                                          (String ((Ascii (true, true, false,
-                                          false, false, false, true, false)),
-                                          (String ((Ascii (true, true, true,
-                                          true, false, true, true, false)),
-                                          (String ((Ascii (false, false,
-                                          true, false, false, true, true,
-                                          false)), (String ((Ascii (true,
-                                          false, true, false, false, true,
-                                          true, false)),
-                                          EmptyString)))))))))))))))) []) :: (
-    (mkcut (S (S (S O))) (S (S (S (S (S (S (S (S (S (S (S (S (S (S (S (S (S
-      (S (S (S (S (S (S (S (S (S (S (S (S (S (S (S (S (S (S (S (S (S
-      O)))))))))))))))))))))))))))))))))))))) (String ((Ascii (false, true,
-      false, false, true, false, true, false)), (String ((Ascii (false,
-      false, true, false, false, false, true, false)), (String ((Ascii
-      (false, true, true, false, false, false, true, false)), (String ((Ascii
-      (true, false, false, true, false, false, true, false)), (String ((Ascii
-      (false, true, true, true, false, false, true, false)), (String ((Ascii
-      (true, false, false, false, false, true, true, false)), (String ((Ascii
-      (true, false, true, true, false, true, true, false)), (String ((Ascii
-      (true, false, true, false, false, true, true, false)),
-      EmptyString)))))))))))))))) ((String ((Ascii (true, true, false, false,
-      true, true, true, false)), (String ((Ascii (false, false, true, false,
-      true, true, true, false)), (String ((Ascii (false, true, false, false,
-      true, true, true, false)), (String ((Ascii (true, false, false, true,
-      false, true, true, false)), (String ((Ascii (false, true, true, true,
-      false, true, true, false)), (String ((Ascii (true, true, true, false,
-      false, true, true, false)), (String ((Ascii (true, true, false, false,
-      true, true, true, false)), (String ((Ascii (false, true, true, true,
-      false, true, false, false)), (String ((Ascii (false, false, true,
-      false, true, false, true, false)), (String ((Ascii (false, true, false,
-      false, true, true, true, false)), (String ((Ascii (true, false, false,
-      true, false, true, true, false)), (String ((Ascii (true, false, true,
-      true, false, true, true, false)), (String ((Ascii (true, true, false,
-      false, true, false, true, false)), (String ((Ascii (false, false,
-      false, false, true, true, true, false)), (String ((Ascii (true, false,
-      false, false, false, true, true, false)), (String ((Ascii (true, true,
-      false, false, false, true, true, false)), (String ((Ascii (true, false,
-      true, false, false, true, true, false)),
-      EmptyString)))))))))))))))))))))))))))))))))) :: [])) :: ((mkcut (S (S
-                                                                  (S (S (S (S
-                                                                  (S (S (S (S
-                                                                  (S (S (S (S
-                                                                  (S (S (S (S
-                                                                  (S (S (S (S
-                                                                  (S (S (S (S
-                                                                  (S (S (S (S
-                                                                  (S (S (S (S
-                                                                  (S (S (S (S
-                                                                  O))))))))))))))))))))))))))))))))))))))
-                                                                  (S (S (S (S
-                                                                  (S (S (S (S
-                                                                  (S (S (S (S
-                                                                  (S (S (S (S
-                                                                  (S (S (S (S
-                                                                  (S (S (S (S
-                                                                  (S (S (S (S
-                                                                  (S (S (S (S
-                                                                  (S (S (S (S
-                                                                  (S (S (S (S
-                                                                  O))))))))))))))))))))))))))))))))))))))))
-                                                                  (String
-                                                                  ((Ascii
-                                                                  (false,
-                                                                  true,
-                                                                  false,
-                                                                  false,
-                                                                  true,
-                                                                  false,
-                                                                  true,
-                                                                  false)),
-                                                                  (String
-                                                                  ((Ascii
-                                                                  (false,
-                                                                  false,
-                                                                  true,
-                                                                  false,
-                                                                  false,
-                                                                  false,
-                                                                  true,
-                                                                  false)),
-                                                                  (String
-                                                                  ((Ascii
-                                                                  (false,
-                                                                  true, true,
-                                                                  false,
-                                                                  false,
-                                                                  false,
-                                                                  true,
-                                                                  false)),
-                                                                  (String
-                                                                  ((Ascii
-                                                                  (true,
-                                                                  false,
-                                                                  false,
-                                                                  true,
-                                                                  false,
-                                                                  false,
-                                                                  true,
-                                                                  false)),
-                                                                  (String
-                                                                  ((Ascii
-                                                                  (true,
-                                                                  false,
-                                                                  false,
-                                                                  true,
-                                                                  false,
-                                                                  false,
-                                                                  true,
-                                                                  false)),
-                                                                  (String
-                                                                  ((Ascii
-                                                                  (false,
-                                                                  false,
-                                                                  true,
-                                                                  false,
-                                                                  false,
-                                                                  false,
-                                                                  true,
-                                                                  false)),
-                                                                  (String
-                                                                  ((Ascii
-                                                                  (false,
-                                                                  true, true,
-                                                                  true,
-                                                                  false,
-                                                                  false,
-                                                                  true,
-                                                                  false)),
-                                                                  (String
-                                                                  ((Ascii
-                                                                  (true,
-                                                                  false,
-                                                                  true,
-                                                                  false,
-                                                                  true, true,
-                                                                  true,
-                                                                  false)),
-                                                                  (String
-                                                                  ((Ascii
-                                                                  (true,
-                                                                  false,
-                                                                  true, true,
-                                                                  false,
-                                                                  true, true,
-                                                                  false)),
-                                                                  (String
-                                                                  ((Ascii
-                                                                  (false,
-                                                                  true,
-                                                                  false,
-                                                                  false,
-                                                                  false,
-                                                                  true, true,
-                                                                  false)),
-                                                                  (String
-                                                                  ((Ascii
-                                                                  (true,
-                                                                  false,
-                                                                  true,
-                                                                  false,
-                                                                  false,
-                                                                  true, true,
-                                                                  false)),
-                                                                  (String
-                                                                  ((Ascii
-                                                                  (false,
-                                                                  true,
-                                                                  false,
-                                                                  false,
-                                                                  true, true,
-                                                                  true,
-                                                                  false)),
-                                                                  (String
-                                                                  ((Ascii
-                                                                  (true,
-                                                                  false,
-                                                                  false,
-                                                                  false,
-                                                                  true,
-                                                                  false,
-                                                                  true,
-                                                                  false)),
-                                                                  (String
-                                                                  ((Ascii
-                                                                  (true,
-                                                                  false,
-                                                                  true,
-                                                                  false,
-                                                                  true, true,
-                                                                  true,
-                                                                  false)),
-                                                                  (String
-                                                                  ((Ascii
-                                                                  (true,
-                                                                  false,
-                                                                  false,
-                                                                  false,
-                                                                  false,
-                                                                  true, true,
-                                                                  false)),
-                                                                  (String
-                                                                  ((Ascii
-                                                                  (false,
-                                                                  false,
-                                                                  true, true,
-                                                                  false,
-                                                                  true, true,
-                                                                  false)),
-                                                                  (String
-                                                                  ((Ascii
-                                                                  (true,
-                                                                  false,
-                                                                  false,
-                                                                  true,
-                                                                  false,
-                                                                  true, true,
-                                                                  false)),
-                                                                  (String
-                                                                  ((Ascii
-                                                                  (false,
-                                                                  true, true,
-                                                                  false,
-                                                                  false,
-                                                                  true, true,
-                                                                  false)),
-                                                                  (String
-                                                                  ((Ascii
-                                                                  (true,
-                                                                  false,
-                                                                  false,
-                                                                  true,
-                                                                  false,
-                                                                  true, true,
-                                                                  false)),
-                                                                  (String
-                                                                  ((Ascii
-                                                                  (true,
-                                                                  false,
-                                                                  true,
-                                                                  false,
-                                                                  false,
-                                                                  true, true,
-                                                                  false)),
-                                                                  (String
-                                                                  ((Ascii
-                                                                  (false,
-                                                                  true,
-                                                                  false,
-                                                                  false,
-                                                                  true, true,
-                                                                  true,
-                                                                  false)),
-                                                                  EmptyString))))))))))))))))))))))))))))))))))))))))))
-                                                                  []) :: (
-    (mkcut (S (S (S (S (S (S (S (S (S (S (S (S (S (S (S (S (S (S (S (S (S (S
-      (S (S (S (S (S (S (S (S (S (S (S (S (S (S (S (S (S (S
-      O)))))))))))))))))))))))))))))))))))))))) (S (S (S (S (S (S (S (S (S (S
-      (S (S (S (S (S (S (S (S (S (S (S (S (S (S (S (S (S (S (S (S (S (S (S (S
-      (S (S (S (S (S (S (S (S (S (S (S (S (S (S (S (S (S (S (S (S (S (S (S (S
-      (S (S (S (S (S (S (S (S (S (S (S (S (S (S (S (S
-      O))))))))))))))))))))))))))))))))))))))))))))))))))))))))))))))))))))))))))
-      (String ((Ascii (false, true, false, false, true, false, true, false)),
-      (String ((Ascii (false, false, true, false, false, false, true,
-      false)), (String ((Ascii (false, true, true, false, false, false, true,
-      false)), (String ((Ascii (true, false, false, true, false, false, true,
-      false)), (String ((Ascii (true, false, false, true, false, false, true,
-      false)), (String ((Ascii (false, false, true, false, false, true, true,
-      false)), (String ((Ascii (true, false, true, false, false, true, true,
-      false)), (String ((Ascii (false, true, true, true, false, true, true,
-      false)), (String ((Ascii (false, false, true, false, true, true, true,
-      false)), (String ((Ascii (true, false, false, true, false, true, true,
-      false)), (String ((Ascii (false, true, true, false, false, true, true,
-      false)), (String ((Ascii (true, false, false, true, false, true, true,
-      false)), (String ((Ascii (true, true, false, false, false, true, true,
-      false)), (String ((Ascii (true, false, false, false, false, true, true,
-      false)), (String ((Ascii (false, false, true, false, true, true, true,
-      false)), (String ((Ascii (true, false, false, true, false, true, true,
-      false)), (String ((Ascii (true, true, true, true, false, true, true,
-      false)), (String ((Ascii (false, true, true, true, false, true, true,
-      false)), EmptyString)))))))))))))))))))))))))))))))))))) ((String
-      ((Ascii (false, false, false, false, true, true, true, false)), (String
-      ((Ascii (true, false, false, false, false, true, true, false)), (String
-      ((Ascii (false, true, false, false, true, true, true, false)), (String
-      ((Ascii (true, true, false, false, true, true, true, false)), (String
-      ((Ascii (true, false, true, false, false, true, true, false)), (String
-      ((Ascii (true, true, false, false, true, false, true, false)), (String
-      ((Ascii (false, false, true, false, true, true, true, false)), (String
-      ((Ascii (false, true, false, false, true, true, true, false)), (String
-      ((Ascii (true, false, false, true, false, true, true, false)), (String
-      ((Ascii (false, true, true, true, false, true, true, false)), (String
-      ((Ascii (true, true, true, false, false, true, true, false)), (String
-      ((Ascii (false, true, true, false, false, false, true, false)), (String
-      ((Ascii (true, false, false, true, false, true, true, false)), (String
-      ((Ascii (true, false, true, false, false, true, true, false)), (String
-      ((Ascii (false, false, true, true, false, true, true, false)), (String
-      ((Ascii (false, false, true, false, false, true, true, false)),
-      EmptyString)))))))))))))))))))))))))))))))) :: [])) :: ((mkcut (S (S (S
-                                                                (S (S (S (S
-                                                                (S (S (S (S
-                                                                (S (S (S (S
-                                                                (S (S (S (S
-                                                                (S (S (S (S
-                                                                (S (S (S (S
-                                                                (S (S (S (S
-                                                                (S (S (S (S
-                                                                (S (S (S (S
-                                                                (S (S (S (S
-                                                                (S (S (S (S
-                                                                (S (S (S (S
-                                                                (S (S (S (S
-                                                                (S (S (S (S
-                                                                (S (S (S (S
-                                                                (S (S (S (S
-                                                                (S (S (S (S
-                                                                (S (S (S
-                                                                O))))))))))))))))))))))))))))))))))))))))))))))))))))))))))))))))))))))))))
-                                                                (S (S (S (S
-                                                                (S (S (S (S
-                                                                (S (S (S (S
-                                                                (S (S (S (S
-                                                                (S (S (S (S
-                                                                (S (S (S (S
-                                                                (S (S (S (S
-                                                                (S (S (S (S
-                                                                (S (S (S (S
-                                                                (S (S (S (S
-                                                                (S (S (S (S
-                                                                (S (S (S (S
-                                                                (S (S (S (S
-                                                                (S (S (S (S
-                                                                (S (S (S (S
-                                                                (S (S (S (S
-                                                                (S (S (S (S
-                                                                (S (S (S (S
-                                                                (S (S (S (S
-                                                                (S
-                                                                O)))))))))))))))))))))))))))))))))))))))))))))))))))))))))))))))))))))))))))))
-                                                                (String
-                                                                ((Ascii
-                                                                (false, true,
-                                                                false, false,
-                                                                true, false,
-                                                                true,
-                                                                false)),
-                                                                (String
-                                                                ((Ascii
-                                                                (false,
-                                                                false, true,
-                                                                false, false,
-                                                                false, true,
-                                                                false)),
-                                                                (String
-                                                                ((Ascii
-                                                                (false, true,
-                                                                true, false,
-                                                                false, false,
-                                                                true,
-                                                                false)),
-                                                                (String
-                                                                ((Ascii
-                                                                (true, false,
-                                                                false, true,
-                                                                false, false,
-                                                                true,
-                                                                false)),
-                                                                (String
-                                                                ((Ascii
-                                                                (false, true,
-                                                                false, false,
-                                                                false, false,
-                                                                true,
-                                                                false)),
-                                                                (String
-                                                                ((Ascii
-                                                                (false, true,
-                                                                false, false,
-                                                                true, true,
-                                                                true,
-                                                                false)),
-                                                                (String
-                                                                ((Ascii
-                                                                (true, false,
-                                                                false, false,
-                                                                false, true,
-                                                                true,
-                                                                false)),
-                                                                (String
-                                                                ((Ascii
-                                                                (false, true,
-                                                                true, true,
-                                                                false, true,
-                                                                true,
-                                                                false)),
-                                                                (String
-                                                                ((Ascii
-                                                                (true, true,
-                                                                false, false,
-                                                                false, true,
-                                                                true,
-                                                                false)),
-                                                                (String
-                                                                ((Ascii
-                                                                (false,
-                                                                false, false,
-                                                                true, false,
-                                                                true, true,
-                                                                false)),
-                                                                (String
-                                                                ((Ascii
-                                                                (true, true,
-                                                                false, false,
-                                                                false, false,
-                                                                true,
-                                                                false)),
-                                                                (String
-                                                                ((Ascii
-                                                                (true, true,
-                                                                true, true,
-                                                                false, true,
-                                                                true,
-                                                                false)),
-                                                                (String
-                                                                ((Ascii
-                                                                (true, false,
-                                                                true, false,
-                                                                true, true,
-                                                                true,
-                                                                false)),
-                                                                (String
-                                                                ((Ascii
-                                                                (false, true,
-                                                                true, true,
-                                                                false, true,
-                                                                true,
-                                                                false)),
-                                                                (String
-                                                                ((Ascii
-                                                                (false,
-                                                                false, true,
-                                                                false, true,
-                                                                true, true,
-                                                                false)),
-                                                                (String
-                                                                ((Ascii
-                                                                (false, true,
-                                                                false, false,
-                                                                true, true,
-                                                                true,
-                                                                false)),
-                                                                (String
-                                                                ((Ascii
-                                                                (true, false,
-                                                                false, true,
-                                                                true, true,
-                                                                true,
-                                                                false)),
-                                                                (String
-                                                                ((Ascii
-                                                                (true, true,
-                                                                false, false,
-                                                                false, false,
-                                                                true,
-                                                                false)),
-                                                                (String
-                                                                ((Ascii
-                                                                (true, true,
-                                                                true, true,
-                                                                false, true,
-                                                                true,
-                                                                false)),
-                                                                (String
-                                                                ((Ascii
-                                                                (false,
-                                                                false, true,
-                                                                false, false,
-                                                                true, true,
-                                                                false)),
-                                                                (String
-                                                                ((Ascii
-                                                                (true, false,
-                                                                true, false,
-                                                                false, true,
-                                                                true,
-                                                                false)),
-                                                                EmptyString))))))))))))))))))))))))))))))))))))))))))
-                                                                ((String
-                                                                ((Ascii
-                                                                (true, true,
-                                                                false, false,
-                                                                true, true,
-                                                                true,
-                                                                false)),
-                                                                (String
-                                                                ((Ascii
-                                                                (false,
-                                                                false, true,
-                                                                false, true,
-                                                                true, true,
-                                                                false)),
-                                                                (String
-                                                                ((Ascii
-                                                                (false, true,
-                                                                false, false,
-                                                                true, true,
-                                                                true,
-                                                                false)),
-                                                                (String
-                                                                ((Ascii
-                                                                (true, false,
-                                                                false, true,
-                                                                false, true,
-                                                                true,
-                                                                false)),
-                                                                (String
-                                                                ((Ascii
-                                                                (false, true,
-                                                                true, true,
-                                                                false, true,
-                                                                true,
-                                                                false)),
-                                                                (String
-                                                                ((Ascii
-                                                                (true, true,
-                                                                true, false,
-                                                                false, true,
-                                                                true,
-                                                                false)),
-                                                                (String
-                                                                ((Ascii
-                                                                (true, true,
-                                                                false, false,
-                                                                true, true,
-                                                                true,
-                                                                false)),
-                                                                (String
-                                                                ((Ascii
-                                                                (false, true,
-                                                                true, true,
-                                                                false, true,
-                                                                false,
-                                                                false)),
-                                                                (String
-                                                                ((Ascii
-                                                                (false,
-                                                                false, true,
-                                                                false, true,
-                                                                false, true,
-                                                                false)),
-                                                                (String
-                                                                ((Ascii
-                                                                (false, true,
-                                                                false, false,
-                                                                true, true,
-                                                                true,
-                                                                false)),
-                                                                (String
-                                                                ((Ascii
-                                                                (true, false,
-                                                                false, true,
-                                                                false, true,
-                                                                true,
-                                                                false)),
-                                                                (String
-                                                                ((Ascii
-                                                                (true, false,
-                                                                true, true,
-                                                                false, true,
-                                                                true,
-                                                                false)),
-                                                                (String
-                                                                ((Ascii
-                                                                (true, true,
-                                                                false, false,
-                                                                true, false,
-                                                                true,
-                                                                false)),
-                                                                (String
-                                                                ((Ascii
-                                                                (false,
-                                                                false, false,
-                                                                false, true,
-                                                                true, true,
-                                                                false)),
-                                                                (String
-                                                                ((Ascii
-                                                                (true, false,
-                                                                false, false,
-                                                                false, true,
-                                                                true,
-                                                                false)),
-                                                                (String
-                                                                ((Ascii
-                                                                (true, true,
-                                                                false, false,
-                                                                false, true,
-                                                                true,
-                                                                false)),
-                                                                (String
-                                                                ((Ascii
-                                                                (true, false,
-                                                                true, false,
-                                                                false, true,
-                                                                true,
-                                                                false)),
-                                                                EmptyString)))))))))))))))))))))))))))))))))) :: [])) :: (
-    (mkcut (S (S (S (S (S (S (S (S (S (S (S (S (S (S (S (S (S (S (S (S (S (S
-      (S (S (S (S (S (S (S (S (S (S (S (S (S (S (S (S (S (S (S (S (S (S (S (S
-      (S (S (S (S (S (S (S (S (S (S (S (S (S (S (S (S (S (S (S (S (S (S (S (S
-      (S (S (S (S (S (S (S
-      O)))))))))))))))))))))))))))))))))))))))))))))))))))))))))))))))))))))))))))))
-      (S (S (S (S (S (S (S (S (S (S (S (S (S (S (S (S (S (S (S (S (S (S (S (S
-      (S (S (S (S (S (S (S (S (S (S (S (S (S (S (S (S (S (S (S (S (S (S (S (S
-      (S (S (S (S (S (S (S (S (S (S (S (S (S (S (S (S (S (S (S (S (S (S (S (S
-      (S (S (S (S (S (S (S (S (S (S (S (S (S (S (S
-      O)))))))))))))))))))))))))))))))))))))))))))))))))))))))))))))))))))))))))))))))))))))))
-      EmptyString []) :: ((mkcut (S (S (S (S (S (S (S (S (S (S (S (S (S (S (S
-                            (S (S (S (S (S (S (S (S (S (S (S (S (S (S (S (S
-                            (S (S (S (S (S (S (S (S (S (S (S (S (S (S (S (S
-                            (S (S (S (S (S (S (S (S (S (S (S (S (S (S (S (S
-                            (S (S (S (S (S (S (S (S (S (S (S (S (S (S (S (S
-                            (S (S (S (S (S (S (S (S
-                            O)))))))))))))))))))))))))))))))))))))))))))))))))))))))))))))))))))))))))))))))))))))))
-                            (S (S (S (S (S (S (S (S (S (S (S (S (S (S (S (S
-                            (S (S (S (S (S (S (S (S (S (S (S (S (S (S (S (S
-                            (S (S (S (S (S (S (S (S (S (S (S (S (S (S (S (S
-                            (S (S (S (S (S (S (S (S (S (S (S (S (S (S (S (S
-                            (S (S (S (S (S (S (S (S (S (S (S (S (S (S (S (S
-                            (S (S (S (S (S (S (S (S (S (S (S (S (S (S
-                            O))))))))))))))))))))))))))))))))))))))))))))))))))))))))))))))))))))))))))))))))))))))))))))))
-                            (String ((Ascii (true, false, true, false, false,
-                            false, true, false)), (String ((Ascii (false,
-                            true, true, true, false, true, true, false)),
-                            (String ((Ascii (false, false, true, false, true,
-                            true, true, false)), (String ((Ascii (false,
-                            true, false, false, true, true, true, false)),
-                            (String ((Ascii (true, false, false, true, true,
-                            true, true, false)), (String ((Ascii (false,
-                            false, true, false, false, false, true, false)),
-                            (String ((Ascii (true, false, true, false, false,
-                            true, true, false)), (String ((Ascii (false,
-                            false, true, false, true, true, true, false)),
-                            (String ((Ascii (true, false, false, false,
-                            false, true, true, false)), (String ((Ascii
-                            (true, false, false, true, false, true, true,
-                            false)), (String ((Ascii (false, false, true,
-                            true, false, true, true, false)), (String ((Ascii
-                            (true, true, false, false, true, false, true,
-                            false)), (String ((Ascii (true, false, true,
-                            false, false, true, true, false)), (String
-                            ((Ascii (true, false, false, false, true, true,
-                            true, false)), (String ((Ascii (true, false,
-                            true, false, true, true, true, false)), (String
-                            ((Ascii (true, false, true, false, false, true,
-                            true, false)), (String ((Ascii (false, true,
-                            true, true, false, true, true, false)), (String
-                            ((Ascii (true, true, false, false, false, true,
-                            true, false)), (String ((Ascii (true, false,
-                            true, false, false, true, true, false)), (String
-                            ((Ascii (false, true, true, true, false, false,
-                            true, false)), (String ((Ascii (true, false,
-                            true, false, true, true, true, false)), (String
-                            ((Ascii (true, false, true, true, false, true,
-                            true, false)), (String ((Ascii (false, true,
-                            false, false, false, true, true, false)), (String
-                            ((Ascii (true, false, true, false, false, true,
-                            true, false)), (String ((Ascii (false, true,
-                            false, false, true, true, true, false)),
-                            EmptyString))))))))))))))))))))))))))))))))))))))))))))))))))
-                            ((String ((Ascii (false, false, false, false,
-                            true, true, true, false)), (String ((Ascii (true,
-                            false, false, false, false, true, true, false)),
-                            (String ((Ascii (false, true, false, false, true,
-                            true, true, false)), (String ((Ascii (true, true,
-                            false, false, true, true, true, false)), (String
-                            ((Ascii (true, false, true, false, false, true,
-                            true, false)), (String ((Ascii (false, true,
-                            true, true, false, false, true, false)), (String
-                            ((Ascii (true, false, true, false, true, true,
-                            true, false)), (String ((Ascii (true, false,
-                            true, true, false, true, true, false)), (String
-                            ((Ascii (false, true, true, false, false, false,
-                            true, false)), (String ((Ascii (true, false,
-                            false, true, false, true, true, false)), (String
-                            ((Ascii (true, false, true, false, false, true,
-                            true, false)), (String ((Ascii (false, false,
-                            true, true, false, true, true, false)), (String
-                            ((Ascii (false, false, true, false, false, true,
-                            true, false)),
-                            EmptyString)))))))))))))))))))))))))) :: [])) :: [])))))))) }
-
-(** val l_Addenda15 : layout **)
-
-let l_Addenda15 =
-  { l_name = (String ((Ascii (true, false, false, false, false, false, true,
-    false)), (String ((Ascii (false, false, true, false, false, true, true,
-    false)), (String ((Ascii (false, false, true, false, false, true, true,
-    false)), (String ((Ascii (true, false, true, false, false, true, true,
-    false)), (String ((Ascii (false, true, true, true, false, true, true,
-    false)), (String ((Ascii (false, false, true, false, false, true, true,
-    false)), (String ((Ascii (true, false, false, false, false, true, true,
-    false)), (String ((Ascii (true, false, false, false, true, true, false,
-    false)), (String ((Ascii (true, false, true, false, true, true, false,
-    false)), EmptyString)))))))))))))))))); l_ix = IRune; l_segs = ((SLit
-    ((Npos (XI (XI (XI (XO (XI XH)))))) :: [])) :: ((SRaw (String ((Ascii
-    (false, false, true, false, true, false, true, false)), (String ((Ascii
-    (true, false, false, true, true, true, true, false)), (String ((Ascii
-    (false, false, false, false, true, true, true, false)), (String ((Ascii
-    (true, false, true, false, false, true, true, false)), (String ((Ascii
-    (true, true, false, false, false, false, true, false)), (String ((Ascii
-    (true, true, true, true, false, true, true, false)), (String ((Ascii
-    (false, false, true, false, false, true, true, false)), (String ((Ascii
-    (true, false, true, false, false, true, true, false)),
-    EmptyString))))))))))))))))) :: ((SAlpha ((String ((Ascii (false, true,
-    false, false, true, false, true, false)), (String ((Ascii (true, false,
-    true, false, false, true, true, false)), (String ((Ascii (true, true,
-    false, false, false, true, true, false)), (String ((Ascii (true, false,
-    true, false, false, true, true, false)), (String ((Ascii (true, false,
-    false, true, false, true, true, false)), (String ((Ascii (false, true,
-    true, false, true, true, true, false)), (String ((Ascii (true, false,
-    true, false, false, true, true, false)), (String ((Ascii (false, true,
-    false, false, true, true, true, false)), (String ((Ascii (true, false,
-    false, true, false, false, true, false)), (String ((Ascii (false, false,
-    true, false, false, false, true, false)), (String ((Ascii (false, true,
-    true, true, false, false, true, false)), (String ((Ascii (true, false,
-    true, false, true, true, true, false)), (String ((Ascii (true, false,
-    true, true, false, true, true, false)), (String ((Ascii (false, true,
-    false, false, false, true, true, false)), (String ((Ascii (true, false,
-    true, false, false, true, true, false)), (String ((Ascii (false, true,
-    false, false, true, true, true, false)),
-    EmptyString)))))))))))))))))))))))))))))))), (S (S (S (S (S (S (S (S (S
-    (S (S (S (S (S (S O))))))))))))))))) :: ((SAlpha ((String ((Ascii (false,
-    true, false, false, true, false, true, false)), (String ((Ascii (true,
-    false, true, false, false, true, true, false)), (String ((Ascii (true,
-    true, false, false, false, true, true, false)), (String ((Ascii (true,
-    false, true, false, false, true, true, false)), (String ((Ascii (true,
-    false, false, true, false, true, true, false)), (String ((Ascii (false,
-    true, true, false, true, true, true, false)), (String ((Ascii (true,
-    false, true, false, false, true, true, false)), (String ((Ascii (false,
-    true, false, false, true, true, true, false)), (String ((Ascii (true,
-    true, false, false, true, false, true, false)), (String ((Ascii (false,
-    false, true, false, true, true, true, false)), (String ((Ascii (false,
-    true, false, false, true, true, true, false)), (String ((Ascii (true,
-    false, true, false, false, true, true, false)), (String ((Ascii (true,
-    false, true, false, false, true, true, false)), (String ((Ascii (false,
-    false, true, false, true, true, true, false)), (String ((Ascii (true,
-    false, false, false, false, false, true, false)), (String ((Ascii (false,
-    false, true, false, false, true, true, false)), (String ((Ascii (false,
-    false, true, false, false, true, true, false)), (String ((Ascii (false,
-    true, false, false, true, true, true, false)), (String ((Ascii (true,
-    false, true, false, false, true, true, false)), (String ((Ascii (true,
-    true, false, false, true, true, true, false)), (String ((Ascii (true,
-    true, false, false, true, true, true, false)),
-    EmptyString)))))))))))))))))))))))))))))))))))))))))), (S (S (S (S (S (S
-    (S (S (S (S (S (S (S (S (S (S (S (S (S (S (S (S (S (S (S (S (S (S (S (S
-    (S (S (S (S (S O))))))))))))))))))))))))))))))))))))) :: ((SLit ((Npos
-    (XO (XO (XO (XO (XO XH)))))) :: ((Npos (XO (XO (XO (XO (XO
-    XH)))))) :: ((Npos (XO (XO (XO (XO (XO XH)))))) :: ((Npos (XO (XO (XO (XO
-    (XO XH)))))) :: ((Npos (XO (XO (XO (XO (XO XH)))))) :: ((Npos (XO (XO (XO
-    (XO (XO XH)))))) :: ((Npos (XO (XO (XO (XO (XO XH)))))) :: ((Npos (XO (XO
-    (XO (XO (XO XH)))))) :: ((Npos (XO (XO (XO (XO (XO XH)))))) :: ((Npos (XO
-    (XO (XO (XO (XO XH)))))) :: ((Npos (XO (XO (XO (XO (XO XH)))))) :: ((Npos
-    (XO (XO (XO (XO (XO XH)))))) :: ((Npos (XO (XO (XO (XO (XO
-    XH)))))) :: ((Npos (XO (XO (XO (XO (XO XH)))))) :: ((Npos (XO (XO (XO (XO
-    (XO XH)))))) :: ((Npos (XO (XO (XO (XO (XO XH)))))) :: ((Npos (XO (XO (XO
-    (XO (XO XH)))))) :: ((Npos (XO (XO (XO (XO (XO XH)))))) :: ((Npos (XO (XO
-    (XO (XO (XO XH)))))) :: ((Npos (XO (XO (XO (XO (XO XH)))))) :: ((Npos (XO
-    (XO (XO (XO (XO XH)))))) :: ((Npos (XO (XO (XO (XO (XO XH)))))) :: ((Npos
-    (XO (XO (XO (XO (XO XH)))))) :: ((Npos (XO (XO (XO (XO (XO
-    XH)))))) :: ((Npos (XO (XO (XO (XO (XO XH)))))) :: ((Npos (XO (XO (XO (XO
-    (XO XH)))))) :: ((Npos (XO (XO (XO (XO (XO XH)))))) :: ((Npos (XO (XO (XO
-    (XO (XO XH)))))) :: ((Npos (XO (XO (XO (XO (XO XH)))))) :: ((Npos (XO (XO
-    (XO (XO (XO XH)))))) :: ((Npos (XO (XO (XO (XO (XO XH)))))) :: ((Npos (XO
-    (XO (XO (XO (XO XH)))))) :: ((Npos (XO (XO (XO (XO (XO XH)))))) :: ((Npos
-    (XO (XO (XO (XO (XO
-    XH)))))) :: []))))))))))))))))))))))))))))))))))) :: ((SNum ((String
-    ((Ascii (true, false, true, false, false, false, true, false)), (String
-    ((Ascii (false, true, true, true, false, true, true, false)), (String
-    ((Ascii (false, false, true, false, true, true, true, false)), (String
-    ((Ascii (false, true, false, false, true, true, true, false)), (String
-    ((Ascii (true, false, false, true, true, true, true, false)), (String
-    ((Ascii (false, false, true, false, false, false, true, false)), (String
-    ((Ascii (true, false, true, false, false, true, true, false)), (String
-    ((Ascii (false, false, true, false, true, true, true, false)), (String
-    ((Ascii (true, false, false, false, false, true, true, false)), (String
-    ((Ascii (true, false, false, true, false, true, true, false)), (String
-    ((Ascii (false, false, true, true, false, true, true, false)), (String
-    ((Ascii (true, true, false, false, true, false, true, false)), (String
-    ((Ascii (true, false, true, false, false, true, true, false)), (String
-    ((Ascii (true, false, false, false, true, true, true, false)), (String
-    ((Ascii (true, false, true, false, true, true, true, false)), (String
-    ((Ascii (true, false, true, false, false, true, true, false)), (String
-    ((Ascii (false, true, true, true, false, true, true, false)), (String
-    ((Ascii (true, true, false, false, false, true, true, false)), (String
-    ((Ascii (true, false, true, false, false, true, true, false)), (String
-    ((Ascii (false, true, true, true, false, false, true, false)), (String
-    ((Ascii (true, false, true, false, true, true, true, false)), (String
-    ((Ascii (true, false, true, true, false, true, true, false)), (String
-    ((Ascii (false, true, false, false, false, true, true, false)), (String
-    ((Ascii (true, false, true, false, false, true, true, false)), (String
-    ((Ascii (false, true, false, false, true, true, true, false)),
-    EmptyString)))))))))))))))))))))))))))))))))))))))))))))))))), (S (S (S
-    (S (S (S (S O))))))))) :: [])))))); l_cuts =
-    ((mkcut O (S O) EmptyString []) :: ((mkcut (S O) (S (S (S O))) (String
-                                          ((Ascii (false, false, true, false,
-                                          true, false, true, false)), (String
-                                          ((Ascii (true, false, false, true,
-                                          true, true, true, false)), (String
-                                          ((Ascii (false, false, false,
-                                          false, true, true, true, false)),
-                                          (String ((Ascii (true, false, true,
-                                          false, false, true, true, false)),
-                                          (String ((Ascii (true, true, false,
-                                          false, false, false, true, false)),
-                                          (String ((Ascii (true, true, true,
-                                          true, false, true, true, false)),
-                                          (String ((Ascii (false, false,
-                                          true, false, false, true, true,
-                                          false)), (String ((Ascii (true,
-                                          false, true, false, false, true,
-                                          true, false)),
-                                          EmptyString)))))))))))))))) []) :: (
-    (mkcut (S (S (S O))) (S (S (S (S (S (S (S (S (S (S (S (S (S (S (S (S (S
-      (S O)))))))))))))))))) (String ((Ascii (false, true, false, false,
-      true, false, true, false)), (String ((Ascii (true, false, true, false,
-      false, true, true, false)), (String ((Ascii (true, true, false, false,
-      false, true, true, false)), (String ((Ascii (true, false, true, false,
-      false, true, true, false)), (String ((Ascii (true, false, false, true,
-      false, true, true, false)), (String ((Ascii (false, true, true, false,
-      true, true, true, false)), (String ((Ascii (true, false, true, false,
-      false, true, true, false)), (String ((Ascii (false, true, false, false,
-      true, true, true, false)), (String ((Ascii (true, false, false, true,
-      false, false, true, false)), (String ((Ascii (false, false, true,
-      false, false, false, true, false)), (String ((Ascii (false, true, true,
-      true, false, false, true, false)), (String ((Ascii (true, false, true,
-      false, true, true, true, false)), (String ((Ascii (true, false, true,
-      true, false, true, true, false)), (String ((Ascii (false, true, false,
-      false, false, true, true, false)), (String ((Ascii (true, false, true,
-      false, false, true, true, false)), (String ((Ascii (false, true, false,
-      false, true, true, true, false)),
-      EmptyString)))))))))))))))))))))))))))))))) ((String ((Ascii (false,
-      false, false, false, true, true, true, false)), (String ((Ascii (true,
-      false, false, false, false, true, true, false)), (String ((Ascii
-      (false, true, false, false, true, true, true, false)), (String ((Ascii
-      (true, true, false, false, true, true, true, false)), (String ((Ascii
-      (true, false, true, false, false, true, true, false)), (String ((Ascii
-      (true, true, false, false, true, false, true, false)), (String ((Ascii
-      (false, false, true, false, true, true, true, false)), (String ((Ascii
-      (false, true, false, false, true, true, true, false)), (String ((Ascii
-      (true, false, false, true, false, true, true, false)), (String ((Ascii
-      (false, true, true, true, false, true, true, false)), (String ((Ascii
-      (true, true, true, false, false, true, true, false)), (String ((Ascii
-      (false, true, true, false, false, false, true, false)), (String ((Ascii
-      (true, false, false, true, false, true, true, false)), (String ((Ascii
-      (true, false, true, false, false, true, true, false)), (String ((Ascii
-      (false, false, true, true, false, true, true, false)), (String ((Ascii
-      (false, false, true, false, false, true, true, false)),
-      EmptyString)))))))))))))))))))))))))))))))) :: [])) :: ((mkcut (S (S (S
-                                                                (S (S (S (S
-                                                                (S (S (S (S
-                                                                (S (S (S (S
-                                                                (S (S (S
-                                                                O))))))))))))))))))
-                                                                (S (S (S (S
-                                                                (S (S (S (S
-                                                                (S (S (S (S
-                                                                (S (S (S (S
-                                                                (S (S (S (S
-                                                                (S (S (S (S
-                                                                (S (S (S (S
-                                                                (S (S (S (S
-                                                                (S (S (S (S
-                                                                (S (S (S (S
-                                                                (S (S (S (S
-                                                                (S (S (S (S
-                                                                (S (S (S (S
-                                                                (S
-                                                                O)))))))))))))))))))))))))))))))))))))))))))))))))))))
-                                                                (String
-                                                                ((Ascii
-                                                                (false, true,
-                                                                false, false,
-                                                                true, false,
-                                                                true,
-                                                                false)),
-                                                                (String
-                                                                ((Ascii
-                                                                (true, false,
-                                                                true, false,
-                                                                false, true,
-                                                                true,
-                                                                false)),
-                                                                (String
-                                                                ((Ascii
-                                                                (true, true,
-                                                                false, false,
-                                                                false, true,
-                                                                true,
-                                                                false)),
-                                                                (String
-                                                                ((Ascii
-                                                                (true, false,
-                                                                true, false,
-                                                                false, true,
-                                                                true,
-                                                                false)),
-                                                                (String
-                                                                ((Ascii
-                                                                (true, false,
-                                                                false, true,
-                                                                false, true,
-                                                                true,
-                                                                false)),
-                                                                (String
-                                                                ((Ascii
-                                                                (false, true,
-                                                                true, false,
-                                                                true, true,
-                                                                true,
-                                                                false)),
-                                                                (String
-                                                                ((Ascii
-                                                                (true, false,
-                                                                true, false,
-                                                                false, true,
-                                                                true,
-                                                                false)),
-                                                                (String
-                                                                ((Ascii
-                                                                (false, true,
-                                                                false, false,
-                                                                true, true,
-                                                                true,
-                                                                false)),
-                                                                (String
-                                                                ((Ascii
-                                                                (true, true,
-                                                                false, false,
-                                                                true, false,
-                                                                true,
-                                                                false)),
-                                                                (String
-                                                                ((Ascii
-                                                                (false,
-                                                                false, true,
-                                                                false, true,
-                                                                true, true,
-                                                                false)),
-                                                                (String
-                                                                ((Ascii
-                                                                (false, true,
-                                                                false, false,
-                                                                true, true,
-                                                                true,
-                                                                false)),
-                                                                (String
-                                                                ((Ascii
-                                                                (true, false,
-                                                                true, false,
-                                                                false, true,
-                                                                true,
-                                                                false)),
-                                                                (String
-                                                                ((Ascii
-                                                                (true, false,
-                                                                true, false,
-                                                                false, true,
-                                                                true,
-                                                                false)),
-                                                                (String
-                                                                ((Ascii
-                                                                (false,
-                                                                false, true,
-                                                                false, true,
-                                                                true, true,
-                                                                false)),
-                                                                (String
-                                                                ((Ascii
-                                                                (true, false,
-                                                                false, false,
-                                                                false, false,
-                                                                true,
-                                                                false)),
-                                                                (String
-                                                                ((Ascii
-                                                                (false,
-                                                                false, true,
-                                                                false, false,
-                                                                true, true,
-                                                                false)),
-                                                                (String
-                                                                ((Ascii
-                                                                (false,
-                                                                false, true,
-                                                                false, false,
-                                                                true, true,
-                                                                false)),
-                                                                (String
-                                                                ((Ascii
-                                                                (false, true,
-                                                                false, false,
-                                                                true, true,
-                                                                true,
-                                                                false)),
-                                                                (String
-                                                                ((Ascii
-                                                                (true, false,
-                                                                true, false,
-                                                                false, true,
-                                                                true,
-                                                                false)),
-                                                                (String
-                                                                ((Ascii
-                                                                (true, true,
-                                                                false, false,
-                                                                true, true,
-                                                                true,
-                                                                false)),
-                                                                (String
-                                                                ((Ascii
-                                                                (true, true,
-                                                                false, false,
-                                                                true, true,
-                                                                true,
-                                                                false)),
-                                                                EmptyString))))))))))))))))))))))))))))))))))))))))))
-                                                                ((String
-                                                                ((Ascii
-                                                                (true, true,
-                                                                false, false,
-                                                                true, true,
-                                                                true,
-                                                                false)),
-                                                                (String
-                                                                ((Ascii
-                                                                (false,
-                                                                false, true,
-                                                                false, true,
-                                                                true, true,
-                                                                false)),
-                                                                (String
-                                                                ((Ascii
-                                                                (false, true,
-                                                                false, false,
-                                                                true, true,
-                                                                true,
-                                                                false)),
-                                                                (String
-                                                                ((Ascii
-                                                                (true, false,
-                                                                false, true,
-                                                                false, true,
-                                                                true,
-                                                                false)),
-                                                                (String
-                                                                ((Ascii
-                                                                (false, true,
-                                                                true, true,
-                                                                false, true,
-                                                                true,
-                                                                false)),
-                                                                (String
-                                                                ((Ascii
-                                                                (true, true,
-                                                                true, false,
-                                                                false, true,
-                                                                true,
-                                                                false)),
-                                                                (String
-                                                                ((Ascii
-                                                                (true, true,
-                                                                false, false,
-                                                                true, true,
-                                                                true,
-                                                                false)),
-                                                                (String
-                                                                ((Ascii
-                                                                (false, true,
-                                                                true, true,
-                                                                false, true,
-                                                                false,
-                                                                false)),
-                                                                (String
-                                                                ((Ascii
-                                                                (false,
-                                                                false, true,
-                                                                false, true,
-                                                                false, true,
-                                                                false)),
-                                                                (String
-                                                                ((Ascii
-                                                                (false, true,
-                                                                false, false,
-                                                                true, true,
-                                                                true,
-                                                                false)),
-                                                                (String
-                                                                ((Ascii
-                                                                (true, false,
-                                                                false, true,
-                                                                false, true,
-                                                                true,
-                                                                false)),
-                                                                (String
-                                                                ((Ascii
-                                                                (true, false,
-                                                                true, true,
-                                                                false, true,
-                                                                true,
-                                                                false)),
-                                                                (String
-                                                                ((Ascii
-                                                                (true, true,
-                                                                false, false,
-                                                                true, false,
-                                                                true,
-                                                                false)),
-                                                                (String
-                                                                ((Ascii
-                                                                (false,
-                                                                false, false,
-                                                                false, true,
-                                                                true, true,
-                                                                false)),
-                                                                (String
-                                                                ((Ascii
-                                                                (true, false,
-                                                                false, false,
-                                                                false, true,
-                                                                true,
-                                                                false)),
-                                                                (String
-                                                                ((Ascii
-                                                                (true, true,
-                                                                false, false,
-                                                                false, true,
-                                                                true,
-                                                                false)),
-                                                                (String
-                                                                ((Ascii
-                                                                (true, false,
-                                                                true, false,
-                                                                false, true,
-                                                                true,
-                                                                false)),
-                                                                EmptyString)))))))))))))))))))))))))))))))))) :: [])) :: (
-    (mkcut (S (S (S (S (S (S (S (S (S (S (S (S (S (S (S (S (S (S (S (S (S (S
-      (S (S (S (S (S (S (S (S (S (S (S (S (S (S (S (S (S (S (S (S (S (S (S (S
-      (S (S (S (S (S (S (S
-      O))))))))))))))))))))))))))))))))))))))))))))))))))))) (S (S (S (S (S
-      (S (S (S (S (S (S (S (S (S (S (S (S (S (S (S (S (S (S (S (S (S (S (S (S
-      (S (S (S (S (S (S (S (S (S (S (S (S (S (S (S (S (S (S (S (S (S (S (S (S
-      (S (S (S (S (S (S (S (S (S (S (S (S (S (S (S (S (S (S (S (S (S (S (S (S
-      (S (S (S (S (S (S (S (S (S (S
-      O)))))))))))))))))))))))))))))))))))))))))))))))))))))))))))))))))))))))))))))))))))))))
-      EmptyString []) :: ((mkcut (S (S (S (S (S (S (S (S (S (S (S (S (S (S (S
-                            (S (S (S (S (S (S (S (S (S (S (S (S (S (S (S (S
-                            (S (S (S (S (S (S (S (S (S (S (S (S (S (S (S (S
-                            (S (S (S (S (S (S (S (S (S (S (S (S (S (S (S (S
-                            (S (S (S (S (S (S (S (S (S (S (S (S (S (S (S (S
-                            (S (S (S (S (S (S (S (S
-                            O)))))))))))))))))))))))))))))))))))))))))))))))))))))))))))))))))))))))))))))))))))))))
-                            (S (S (S (S (S (S (S (S (S (S (S (S (S (S (S (S
-                            (S (S (S (S (S (S (S (S (S (S (S (S (S (S (S (S
-                            (S (S (S (S (S (S (S (S (S (S (S (S (S (S (S (S
-                            (S (S (S (S (S (S (S (S (S (S (S (S (S (S (S (S
-                            (S (S (S (S (S (S (S (S (S (S (S (S (S (S (S (S
-                            (S (S (S (S (S (S (S (S (S (S (S (S (S (S
-                            O))))))))))))))))))))))))))))))))))))))))))))))))))))))))))))))))))))))))))))))))))))))))))))))
-                            (String ((Ascii (true, false, true, false, false,
-                            false, true, false)), (String ((Ascii (false,
-                            true, true, true, false, true, true, false)),
-                            (String ((Ascii (false, false, true, false, true,
-                            true, true, false)), (String ((Ascii (false,
-                            true, false, false, true, true, true, false)),
-                            (String ((Ascii (true, false, false, true, true,
-                            true, true, false)), (String ((Ascii (false,
-                            false, true, false, false, false, true, false)),
-                            (String ((Ascii (true, false, true, false, false,
-                            true, true, false)), (String ((Ascii (false,
-                            false, true, false, true, true, true, false)),
-                            (String ((Ascii (true, false, false, false,
-                            false, true, true, false)), (String ((Ascii
-                            (true, false, false, true, false, true, true,
-                            false)), (String ((Ascii (false, false, true,
-                            true, false, true, true, false)), (String ((Ascii
-                            (true, true, false, false, true, false, true,
-                            false)), (String ((Ascii (true, false, true,
-                            false, false, true, true, false)), (String
-                            ((Ascii (true, false, false, false, true, true,
-                            true, false)), (String ((Ascii (true, false,
-                            true, false, true, true, true, false)), (String
-                            ((Ascii (true, false, true, false, false, true,
-                            true, false)), (String ((Ascii (false, true,
-                            true, true, false, true, true, false)), (String
-                            ((Ascii (true, true, false, false, false, true,
-                            true, false)), (String ((Ascii (true, false,
-                            true, false, false, true, true, false)), (String
-                            ((Ascii (false, true, true, true, false, false,
-                            true, false)), (String ((Ascii (true, false,
-                            true, false, true, true, true, false)), (String
-                            ((Ascii (true, false, true, true, false, true,
-                            true, false)), (String ((Ascii (false, true,
-                            false, false, false, true, true, false)), (String
-                            ((Ascii (true, false, true, false, false, true,
-                            true, false)), (String ((Ascii (false, true,
-                            false, false, true, true, true, false)),
-                            EmptyString))))))))))))))))))))))))))))))))))))))))))))))))))
-                            ((String ((Ascii (false, false, false, false,
-                            true, true, true, false)), (String ((Ascii (true,
-                            false, false, false, false, true, true, false)),
-                            (String ((Ascii (false, true, false, false, true,
-                            true, true, false)), (String ((Ascii (true, true,
-                            false, false, true, true, true, false)), (String
-                            ((Ascii (true, false, true, false, false, true,
-                            true, false)), (String ((Ascii (false, true,
-                            true, true, false, false, true, false)), (String
-                            ((Ascii (true, false, true, false, true, true,
-                            true, false)), (String ((Ascii (true, false,
-                            true, true, false, true, true, false)), (String
-                            ((Ascii (false, true, true, false, false, false,
-                            true, false)), (String ((Ascii (true, false,
-                            false, true, false, true, true, false)), (String
-                            ((Ascii (true, false, true, false, false, true,
-                            true, false)), (String ((Ascii (false, false,
-                            true, true, false, true, true, false)), (String
-                            ((Ascii (false, false, true, false, false, true,
-                            true, false)),
-                            EmptyString)))))))))))))))))))))))))) :: [])) :: [])))))) }
-
-(** val l_Addenda16 : layout **)
-
-let l_Addenda16 =
-  { l_name = (String ((Ascii (true, false, false, false, false, false, true,
-    false)), (String ((Ascii (false, false, true, false, false, true, true,
-    false)), (String ((Ascii (false, false, true, false, false, true, true,
-    false)), (String ((Ascii (true, false, true, false, false, true, true,
-    false)), (String ((Ascii (false, true, true, true, false, true, true,
-    false)), (String ((Ascii (false, false, true, false, false, true, true,
-    false)), (String ((Ascii (true, false, false, false, false, true, true,
-    false)), (String ((Ascii (true, false, false, false, true, true, false,
-    false)), (String ((Ascii (false, true, true, false, true, true, false,
-    false)), EmptyString)))))))))))))))))); l_ix = IRune; l_segs = ((SLit
-    ((Npos (XI (XI (XI (XO (XI XH)))))) :: [])) :: ((SRaw (String ((Ascii
-    (false, false, true, false, true, false, true, false)), (String ((Ascii
-    (true, false, false, true, true, true, true, false)), (String ((Ascii
-    (false, false, false, false, true, true, true, false)), (String ((Ascii
-    (true, false, true, false, false, true, true, false)), (String ((Ascii
-    (true, true, false, false, false, false, true, false)), (String ((Ascii
-    (true, true, true, true, false, true, true, false)), (String ((Ascii
-    (false, false, true, false, false, true, true, false)), (String ((Ascii
-    (true, false, true, false, false, true, true, false)),
-    EmptyString))))))))))))))))) :: ((SAlpha ((String ((Ascii (false, true,
-    false, false, true, false, true, false)), (String ((Ascii (true, false,
-    true, false, false, true, true, false)), (String ((Ascii (true, true,
-    false, false, false, true, true, false)), (String ((Ascii (true, false,
-    true, false, false, true, true, false)), (String ((Ascii (true, false,
-    false, true, false, true, true, false)), (String ((Ascii (false, true,
-    true, false, true, true, true, false)), (String ((Ascii (true, false,
-    true, false, false, true, true, false)), (String ((Ascii (false, true,
-    false, false, true, true, true, false)), (String ((Ascii (true, true,
-    false, false, false, false, true, false)), (String ((Ascii (true, false,
-    false, true, false, true, true, false)), (String ((Ascii (false, false,
-    true, false, true, true, true, false)), (String ((Ascii (true, false,
-    false, true, true, true, true, false)), (String ((Ascii (true, true,
-    false, false, true, false, true, false)), (String ((Ascii (false, false,
-    true, false, true, true, true, false)), (String ((Ascii (true, false,
-    false, false, false, true, true, false)), (String ((Ascii (false, false,
-    true, false, true, true, true, false)), (String ((Ascii (true, false,
-    true, false, false, true, true, false)), (String ((Ascii (false, false,
-    false, false, true, false, true, false)), (String ((Ascii (false, true,
-    false, false, true, true, true, false)), (String ((Ascii (true, true,
-    true, true, false, true, true, false)), (String ((Ascii (false, true,
-    true, false, true, true, true, false)), (String ((Ascii (true, false,
-    false, true, false, true, true, false)), (String ((Ascii (false, true,
-    true, true, false, true, true, false)), (String ((Ascii (true, true,
-    false, false, false, true, true, false)), (String ((Ascii (true, false,
-    true, false, false, true, true, false)),
-    EmptyString)))))))))))))))))))))))))))))))))))))))))))))))))), (S (S (S
-    (S (S (S (S (S (S (S (S (S (S (S (S (S (S (S (S (S (S (S (S (S (S (S (S
-    (S (S (S (S (S (S (S (S
-    O))))))))))))))))))))))))))))))))))))) :: ((SAlpha ((String ((Ascii
-    (false, true, false, false, true, false, true, false)), (String ((Ascii
-    (true, false, true, false, false, true, true, false)), (String ((Ascii
-    (true, true, false, false, false, true, true, false)), (String ((Ascii
-    (true, false, true, false, false, true, true, false)), (String ((Ascii
-    (true, false, false, true, false, true, true, false)), (String ((Ascii
-    (false, true, true, false, true, true, true, false)), (String ((Ascii
-    (true, false, true, false, false, true, true, false)), (String ((Ascii
-    (false, true, false, false, true, true, true, false)), (String ((Ascii
-    (true, true, false, false, false, false, true, false)), (String ((Ascii
-    (true, true, true, true, false, true, true, false)), (String ((Ascii
-    (true, false, true, false, true, true, true, false)), (String ((Ascii
-    (false, true, true, true, false, true, true, false)), (String ((Ascii
-    (false, false, true, false, true, true, true, false)), (String ((Ascii
-    (false, true, false, false, true, true, true, false)), (String ((Ascii
-    (true, false, false, true, true, true, true, false)), (String ((Ascii
-    (false, false, false, false, true, false, true, false)), (String ((Ascii
-    (true, true, true, true, false, true, true, false)), (String ((Ascii
-    (true, true, false, false, true, true, true, false)), (String ((Ascii
-    (false, false, true, false, true, true, true, false)), (String ((Ascii
-    (true, false, false, false, false, true, true, false)), (String ((Ascii
-    (false, false, true, true, false, true, true, false)), (String ((Ascii
-    (true, true, false, false, false, false, true, false)), (String ((Ascii
-    (true, true, true, true, false, true, true, false)), (String ((Ascii
-    (false, false, true, false, false, true, true, false)), (String ((Ascii
-    (true, false, true, false, false, true, true, false)),
-    EmptyString)))))))))))))))))))))))))))))))))))))))))))))))))), (S (S (S
-    (S (S (S (S (S (S (S (S (S (S (S (S (S (S (S (S (S (S (S (S (S (S (S (S
-    (S (S (S (S (S (S (S (S O))))))))))))))))))))))))))))))))))))) :: ((SLit
-    ((Npos (XO (XO (XO (XO (XO XH)))))) :: ((Npos (XO (XO (XO (XO (XO
-    XH)))))) :: ((Npos (XO (XO (XO (XO (XO XH)))))) :: ((Npos (XO (XO (XO (XO
-    (XO XH)))))) :: ((Npos (XO (XO (XO (XO (XO XH)))))) :: ((Npos (XO (XO (XO
-    (XO (XO XH)))))) :: ((Npos (XO (XO (XO (XO (XO XH)))))) :: ((Npos (XO (XO
-    (XO (XO (XO XH)))))) :: ((Npos (XO (XO (XO (XO (XO XH)))))) :: ((Npos (XO
-    (XO (XO (XO (XO XH)))))) :: ((Npos (XO (XO (XO (XO (XO XH)))))) :: ((Npos
-    (XO (XO (XO (XO (XO XH)))))) :: ((Npos (XO (XO (XO (XO (XO
-    XH)))))) :: ((Npos (XO (XO (XO (XO (XO
-    XH)))))) :: []))))))))))))))) :: ((SNum ((String ((Ascii (true, false,
-    true, false, false, false, true, false)), (String ((Ascii (false, true,
-    true, true, false, true, true, false)), (String ((Ascii (false, false,
-    true, false, true, true, true, false)), (String ((Ascii (false, true,
-    false, false, true, true, true, false)), (String ((Ascii (true, false,
-    false, true, true, true, true, false)), (String ((Ascii (false, false,
-    true, false, false, false, true, false)), (String ((Ascii (true, false,
-    true, false, false, true, true, false)), (String ((Ascii (false, false,
-    true, false, true, true, true, false)), (String ((Ascii (true, false,
-    false, false, false, true, true, false)), (String ((Ascii (true, false,
-    false, true, false, true, true, false)), (String ((Ascii (false, false,
-    true, true, false, true, true, false)), (String ((Ascii (true, true,
-    false, false, true, false, true, false)), (String ((Ascii (true, false,
-    true, false, false, true, true, false)), (String ((Ascii (true, false,
-    false, false, true, true, true, false)), (String ((Ascii (true, false,
-    true, false, true, true, true, false)), (String ((Ascii (true, false,
-    true, false, false, true, true, false)), (String ((Ascii (false, true,
-    true, true, false, true, true, false)), (String ((Ascii (true, true,
-    false, false, false, true, true, false)), (String ((Ascii (true, false,
-    true, false, false, true, true, false)), (String ((Ascii (false, true,
-    true, true, false, false, true, false)), (String ((Ascii (true, false,
-    true, false, true, true, true, false)), (String ((Ascii (true, false,
-    true, true, false, true, true, false)), (String ((Ascii (false, true,
-    false, false, false, true, true, false)), (String ((Ascii (true, false,
-    true, false, false, true, true, false)), (String ((Ascii (false, true,
-    false, false, true, true, true, false)),
-    EmptyString)))))))))))))))))))))))))))))))))))))))))))))))))), (S (S (S
-    (S (S (S (S O))))))))) :: [])))))); l_cuts =
-    ((mkcut O (S O) EmptyString []) :: ((mkcut (S O) (S (S (S O))) (String
-                                          ((Ascii (false, false, true, false,
-                                          true, false, true, false)), (String
-                                          ((Ascii (true, false, false, true,
-                                          true, true, true, false)), (String
-                                          ((Ascii (false, false, false,
-                                          false, true, true, true, false)),
-                                          (String ((Ascii (true, false, true,
-                                          false, false, true, true, false)),
-                                          (String ((Ascii (true, true, false,
-                                          false, false, false, true, false)),
-                                          (String ((Ascii (true, true, true,
-                                          true, false, true, true, false)),
-                                          (String ((Ascii (false, false,
-                                          true, false, false, true, true,
-                                          false)), (String ((Ascii (true,
-                                          false, true, false, false, true,
-                                          true, false)),
-                                          EmptyString)))))))))))))))) []) :: (
-    (mkcut (S (S (S O))) (S (S (S (S (S (S (S (S (S (S (S (S (S (S (S (S (S
-      (S (S (S (S (S (S (S (S (S (S (S (S (S (S (S (S (S (S (S (S (S
-      O)))))))))))))))))))))))))))))))))))))) (String ((Ascii (false, true,
-      false, false, true, false, true, false)), (String ((Ascii (true, false,
-      true, false, false, true, true, false)), (String ((Ascii (true, true,
-      false, false, false, true, true, false)), (String ((Ascii (true, false,
-      true, false, false, true, true, false)), (String ((Ascii (true, false,
-      false, true, false, true, true, false)), (String ((Ascii (false, true,
-      true, false, true, true, true, false)), (String ((Ascii (true, false,
-      true, false, false, true, true, false)), (String ((Ascii (false, true,
-      false, false, true, true, true, false)), (String ((Ascii (true, true,
-      false, false, false, false, true, false)), (String ((Ascii (true,
-      false, false, true, false, true, true, false)), (String ((Ascii (false,
-      false, true, false, true, true, true, false)), (String ((Ascii (true,
-      false, false, true, true, true, true, false)), (String ((Ascii (true,
-      true, false, false, true, false, true, false)), (String ((Ascii (false,
-      false, true, false, true, true, true, false)), (String ((Ascii (true,
-      false, false, false, false, true, true, false)), (String ((Ascii
-      (false, false, true, false, true, true, true, false)), (String ((Ascii
-      (true, false, true, false, false, true, true, false)), (String ((Ascii
-      (false, false, false, false, true, false, true, false)), (String
-      ((Ascii (false, true, false, false, true, true, true, false)), (String
-      ((Ascii (true, true, true, true, false, true, true, false)), (String
-      ((Ascii (false, true, true, false, true, true, true, false)), (String
-      ((Ascii (true, false, false, true, false, true, true, false)), (String
-      ((Ascii (false, true, true, true, false, true, true, false)), (String
-      ((Ascii (true, true, false, false, false, true, true, false)), (String
-      ((Ascii (true, false, true, false, false, true, true, false)),
-      EmptyString)))))))))))))))))))))))))))))))))))))))))))))))))) ((String
-      ((Ascii (true, true, false, false, true, true, true, false)), (String
-      ((Ascii (false, false, true, false, true, true, true, false)), (String
-      ((Ascii (false, true, false, false, true, true, true, false)), (String
-      ((Ascii (true, false, false, true, false, true, true, false)), (String
-      ((Ascii (false, true, true, true, false, true, true, false)), (String
-      ((Ascii (true, true, true, false, false, true, true, false)), (String
-      ((Ascii (true, true, false, false, true, true, true, false)), (String
-      ((Ascii (false, true, true, true, false, true, false, false)), (String
-      ((Ascii (false, false, true, false, true, false, true, false)), (String
-      ((Ascii (false, true, false, false, true, true, true, false)), (String
-      ((Ascii (true, false, false, true, false, true, true, false)), (String
-      ((Ascii (true, false, true, true, false, true, true, false)), (String
-      ((Ascii (true, true, false, false, true, false, true, false)), (String
-      ((Ascii (false, false, false, false, true, true, true, false)), (String
-      ((Ascii (true, false, false, false, false, true, true, false)), (String
-      ((Ascii (true, true, false, false, false, true, true, false)), (String
-      ((Ascii (true, false, true, false, false, true, true, false)),
-      EmptyString)))))))))))))))))))))))))))))))))) :: [])) :: ((mkcut (S (S
-                                                                  (S (S (S (S
-                                                                  (S (S (S (S
-                                                                  (S (S (S (S
-                                                                  (S (S (S (S
-                                                                  (S (S (S (S
-                                                                  (S (S (S (S
-                                                                  (S (S (S (S
-                                                                  (S (S (S (S
-                                                                  (S (S (S (S
-                                                                  O))))))))))))))))))))))))))))))))))))))
-                                                                  (S (S (S (S
-                                                                  (S (S (S (S
-                                                                  (S (S (S (S
-                                                                  (S (S (S (S
-                                                                  (S (S (S (S
-                                                                  (S (S (S (S
-                                                                  (S (S (S (S
-                                                                  (S (S (S (S
-                                                                  (S (S (S (S
-                                                                  (S (S (S (S
-                                                                  (S (S (S (S
-                                                                  (S (S (S (S
-                                                                  (S (S (S (S
-                                                                  (S (S (S (S
-                                                                  (S (S (S (S
-                                                                  (S (S (S (S
-                                                                  (S (S (S (S
-                                                                  (S (S (S (S
-                                                                  (S
-                                                                  O)))))))))))))))))))))))))))))))))))))))))))))))))))))))))))))))))))))))))
-                                                                  (String
-                                                                  ((Ascii
-                                                                  (false,
-                                                                  true,
-                                                                  false,
-                                                                  false,
-                                                                  true,
-                                                                  false,
-                                                                  true,
-                                                                  false)),
-                                                                  (String
-                                                                  ((Ascii
-                                                                  (true,
-                                                                  false,
-                                                                  true,
-                                                                  false,
-                                                                  false,
-                                                                  true, true,
-                                                                  false)),
-                                                                  (String
-                                                                  ((Ascii
-                                                                  (true,
-                                                                  true,
-                                                                  false,
-                                                                  false,
-                                                                  false,
-                                                                  true, true,
-                                                                  false)),
-                                                                  (String
-                                                                  ((Ascii
-                                                                  (true,
-                                                                  false,
-                                                                  true,
-                                                                  false,
-                                                                  false,
-                                                                  true, true,
-                                                                  false)),
-                                                                  (String
-                                                                  ((Ascii
-                                                                  (true,
-                                                                  false,
-                                                                  false,
-                                                                  true,
-                                                                  false,
-                                                                  true, true,
-                                                                  false)),
-                                                                  (String
-                                                                  ((Ascii
-                                                                  (false,
-                                                                  true, true,
-                                                                  false,
-                                                                  true, true,
-                                                                  true,
-                                                                  false)),
-                                                                  (String
-                                                                  ((Ascii
-                                                                  (true,
-                                                                  false,
-                                                                  true,
-                                                                  false,
-                                                                  false,
-                                                                  true, true,
-                                                                  false)),
-                                                                  (String
-                                                                  ((Ascii
-                                                                  (false,
-                                                                  true,
-                                                                  false,
-                                                                  false,
-                                                                  true, true,
-                                                                  true,
-                                                                  false)),
-                                                                  (String
-                                                                  ((Ascii
-                                                                  (true,
-                                                                  true,
-                                                                  false,
-                                                                  false,
-                                                                  false,
-                                                                  false,
-                                                                  true,
-                                                                  false)),
-                                                                  (String
-                                                                  ((Ascii
-                                                                  (true,
-                                                                  true, true,
-                                                                  true,
-                                                                  false,
-                                                                  true, true,
-                                                                  false)),
-                                                                  (String
-                                                                  ((Ascii
-                                                                  (true,
-                                                                  false,
-                                                                  true,
-                                                                  false,
-                                                                  true, true,
-                                                                  true,
-                                                                  false)),
-                                                                  (String
-                                                                  ((Ascii
-                                                                  (false,
-                                                                  true, true,
-                                                                  true,
-                                                                  false,
-                                                                  true, true,
-                                                                  false)),
-                                                                  (String
-                                                                  ((Ascii
-                                                                  (false,
-                                                                  false,
-                                                                  true,
-                                                                  false,
-                                                                  true, true,
-                                                                  true,
-                                                                  false)),
-                                                                  (String
-                                                                  ((Ascii
-                                                                  (false,
-                                                                  true,
-                                                                  false,
-                                                                  false,
-                                                                  true, true,
-                                                                  true,
-                                                                  false)),
-                                                                  (String
-                                                                  ((Ascii
-                                                                  (true,
-                                                                  false,
-                                                                  false,
-                                                                  true, true,
-                                                                  true, true,
-                                                                  false)),
-                                                                  (String
-                                                                  ((Ascii
-                                                                  (false,
-                                                                  false,
-                                                                  false,
-                                                                  false,
-                                                                  true,
-                                                                  false,
-                                                                  true,
-                                                                  false)),
-                                                                  (String
-                                                                  ((Ascii
-                                                                  (true,
-                                                                  true, true,
-                                                                  true,
-                                                                  false,
-                                                                  true, true,
-                                                                  false)),
-                                                                  (String
-                                                                  ((Ascii
-                                                                  (true,
-                                                                  true,
-                                                                  false,
-                                                                  false,
-                                                                  true, true,
-                                                                  true,
-                                                                  false)),
-                                                                  (String
-                                                                  ((Ascii
-                                                                  (false,
-                                                                  false,
-                                                                  true,
-                                                                  false,
-                                                                  true, true,
-                                                                  true,
-                                                                  false)),
-                                                                  (String
-                                                                  ((Ascii
-                                                                  (true,
-                                                                  false,
-                                                                  false,
-                                                                  false,
-                                                                  false,
-                                                                  true, true,
-                                                                  false)),
-                                                                  (String
-                                                                  ((Ascii
-                                                                  (false,
-                                                                  false,
-                                                                  true, true,
-                                                                  false,
-                                                                  true, true,
-                                                                  false)),
-                                                                  (String
-                                                                  ((Ascii
-                                                                  (true,
-                                                                  true,
-                                                                  false,
-                                                                  false,
-                                                                  false,
-                                                                  false,
-                                                                  true,
-                                                                  false)),
-                                                                  (String
-                                                                  ((Ascii
-                                                                  (true,
-                                                                  true, true,
-                                                                  true,
-                                                                  false,
-                                                                  true, true,
-                                                                  false)),
-                                                                  (String
-                                                                  ((Ascii
-                                                                  (false,
-                                                                  false,
-                                                                  true,
-                                                                  false,
-                                                                  false,
-                                                                  true, true,
-                                                                  false)),
-                                                                  (String
-                                                                  ((Ascii
-                                                                  (true,
-                                                                  false,
-                                                                  true,
-                                                                  false,
-                                                                  false,
-                                                                  true, true,
-                                                                  false)),
-                                                                  EmptyString))))))))))))))))))))))))))))))))))))))))))))))))))
-                                                                  ((String
-                                                                  ((Ascii
-                                                                  (true,
-                                                                  true,
-                                                                  false,
-                                                                  false,
-                                                                  true, true,
-                                                                  true,
-                                                                  false)),
-                                                                  (String
-                                                                  ((Ascii
-                                                                  (false,
-                                                                  false,
-                                                                  true,
-                                                                  false,
-                                                                  true, true,
-                                                                  true,
-                                                                  false)),
-                                                                  (String
-                                                                  ((Ascii
-                                                                  (false,
-                                                                  true,
-                                                                  false,
-                                                                  false,
-                                                                  true, true,
-                                                                  true,
-                                                                  false)),
-                                                                  (String
-                                                                  ((Ascii
-                                                                  (true,
-                                                                  false,
-                                                                  false,
-                                                                  true,
-                                                                  false,
-                                                                  true, true,
-                                                                  false)),
-                                                                  (String
-                                                                  ((Ascii
-                                                                  (false,
-                                                                  true, true,
-                                                                  true,
-                                                                  false,
-                                                                  true, true,
-                                                                  false)),
-                                                                  (String
-                                                                  ((Ascii
-                                                                  (true,
-                                                                  true, true,
-                                                                  false,
-                                                                  false,
-                                                                  true, true,
-                                                                  false)),
-                                                                  (String
-                                                                  ((Ascii
-                                                                  (true,
-                                                                  true,
-                                                                  false,
-                                                                  false,
-                                                                  true, true,
-                                                                  true,
-                                                                  false)),
-                                                                  (String
-                                                                  ((Ascii
-                                                                  (false,
-                                                                  true, true,
-                                                                  true,
-                                                                  false,
-                                                                  true,
-                                                                  false,
-                                                                  false)),
-                                                                  (String
-                                                                  ((Ascii
-                                                                  (false,
-                                                                  false,
-                                                                  true,
-                                                                  false,
-                                                                  true,
-                                                                  false,
-                                                                  true,
-                                                                  false)),
-                                                                  (String
-                                                                  ((Ascii
-                                                                  (false,
-                                                                  true,
-                                                                  false,
-                                                                  false,
-                                                                  true, true,
-                                                                  true,
-                                                                  false)),
-                                                                  (String
-                                                                  ((Ascii
-                                                                  (true,
-                                                                  false,
-                                                                  false,
-                                                                  true,
-                                                                  false,
-                                                                  true, true,
-                                                                  false)),
-                                                                  (String
-                                                                  ((Ascii
-                                                                  (true,
-                                                                  false,
-                                                                  true, true,
-                                                                  false,
-                                                                  true, true,
-                                                                  false)),
-                                                                  (String
-                                                                  ((Ascii
-                                                                  (true,
-                                                                  true,
-                                                                  false,
-                                                                  false,
-                                                                  true,
-                                                                  false,
-                                                                  true,
-                                                                  false)),
-                                                                  (String
-                                                                  ((Ascii
-                                                                  (false,
-                                                                  false,
-                                                                  false,
-                                                                  false,
-                                                                  true, true,
-                                                                  true,
-                                                                  false)),
-                                                                  (String
-                                                                  ((Ascii
-                                                                  (true,
-                                                                  false,
-                                                                  false,
-                                                                  false,
-                                                                  false,
-                                                                  true, true,
-                                                                  false)),
-                                                                  (String
-                                                                  ((Ascii
-                                                                  (true,
-                                                                  true,
-                                                                  false,
-                                                                  false,
-                                                                  false,
-                                                                  true, true,
-                                                                  false)),
-                                                                  (String
-                                                                  ((Ascii
-                                                                  (true,
-                                                                  false,
-                                                                  true,
-                                                                  false,
-                                                                  false,
-                                                                  true, true,
-                                                                  false)),
-                                                                  EmptyString)))))))))))))))))))))))))))))))))) :: [])) :: (
-    (mkcut (S (S (S (S (S (S (S (S (S (S (S (S (S (S (S (S (S (S (S (S (S (S
-      (S (S (S (S (S (S (S (S (S (S (S (S (S (S (S (S (S (S (S (S (S (S (S (S
-      (S (S (S (S (S (S (S (S (S (S (S (S (S (S (S (S (S (S (S (S (S (S (S (S
-      (S (S (S
-      O)))))))))))))))))))))))))))))))))))))))))))))))))))))))))))))))))))))))))
-      (S (S (S (S (S (S (S (S (S (S (S (S (S (S (S (S (S (S (S (S (S (S (S (S
-      (S (S (S (S (S (S (S (S (S (S (S (S (S (S (S (S (S (S (S (S (S (S (S (S
-      (S (S (S (S (S (S (S (S (S (S (S (S (S (S (S (S (S (S (S (S (S (S (S (S
-      (S (S (S (S (S (S (S (S (S (S (S (S (S (S (S
-      O)))))))))))))))))))))))))))))))))))))))))))))))))))))))))))))))))))))))))))))))))))))))
-      EmptyString []) :: ((mkcut (S (S (S (S (S (S (S (S (S (S (S (S (S (S (S
-                            (S (S (S (S (S (S (S (S (S (S (S (S (S (S (S (S
-                            (S (S (S (S (S (S (S (S (S (S (S (S (S (S (S (S
-                            (S (S (S (S (S (S (S (S (S (S (S (S (S (S (S (S
-                            (S (S (S (S (S (S (S (S (S (S (S (S (S (S (S (S
-                            (S (S (S (S (S (S (S (S
-                            O)))))))))))))))))))))))))))))))))))))))))))))))))))))))))))))))))))))))))))))))))))))))
-                            (S (S (S (S (S (S (S (S (S (S (S (S (S (S (S (S
-                            (S (S (S (S (S (S (S (S (S (S (S (S (S (S (S (S
-                            (S (S (S (S (S (S (S (S (S (S (S (S (S (S (S (S
-                            (S (S (S (S (S (S (S (S (S (S (S (S (S (S (S (S
-                            (S (S (S (S (S (S (S (S (S (S (S (S (S (S (S (S
-                            (S (S (S (S (S (S (S (S (S (S (S (S (S (S
-                            O))))))))))))))))))))))))))))))))))))))))))))))))))))))))))))))))))))))))))))))))))))))))))))))
-                            (String ((Ascii (true, false, true, false, false,
-                            false, true, false)), (String ((Ascii (false,
-                            true, true, true, false, true, true, false)),
-                            (String ((Ascii (false, false, true, false, true,
-                            true, true, false)), (String ((Ascii (false,
-                            true, false, false, true, true, true, false)),
-                            (String ((Ascii (true, false, false, true, true,
-                            true, true, false)), (String ((Ascii (false,
-                            false, true, false, false, false, true, false)),
-                            (String ((Ascii (true, false, true, false, false,
-                            true, true, false)), (String ((Ascii (false,
-                            false, true, false, true, true, true, false)),
-                            (String ((Ascii (true, false, false, false,
-                            false, true, true, false)), (String ((Ascii
-                            (true, false, false, true, false, true, true,
-                            false)), (String ((Ascii (false, false, true,
-                            true, false, true, true, false)), (String ((Ascii
-                            (true, true, false, false, true, false, true,
-                            false)), (String ((Ascii (true, false, true,
-                            false, false, true, true, false)), (String
-                            ((Ascii (true, false, false, false, true, true,
-                            true, false)), (String ((Ascii (true, false,
-                            true, false, true, true, true, false)), (String
-                            ((Ascii (true, false, true, false, false, true,
-                            true, false)), (String ((Ascii (false, true,
-                            true, true, false, true, true, false)), (String
-                            ((Ascii (true, true, false, false, false, true,
-                            true, false)), (String ((Ascii (true, false,
-                            true, false, false, true, true, false)), (String
-                            ((Ascii (false, true, true, true, false, false,
-                            true, false)), (String ((Ascii (true, false,
-                            true, false, true, true, true, false)), (String
-                            ((Ascii (true, false, true, true, false, true,
-                            true, false)), (String ((Ascii (false, true,
-                            false, false, false, true, true, false)), (String
-                            ((Ascii (true, false, true, false, false, true,
-                            true, false)), (String ((Ascii (false, true,
-                            false, false, true, true, true, false)),
-                            EmptyString))))))))))))))))))))))))))))))))))))))))))))))))))
-                            ((String ((Ascii (false, false, false, false,
-                            true, true, true, false)), (String ((Ascii (true,
-                            false, false, false, false, true, true, false)),
-                            (String ((Ascii (false, true, false, false, true,
-                            true, true, false)), (String ((Ascii (true, true,
-                            false, false, true, true, true, false)), (String
-                            ((Ascii (true, false, true, false, false, true,
-                            true, false)), (String ((Ascii (false, true,
-                            true, true, false, false, true, false)), (String
-                            ((Ascii (true, false, true, false, true, true,
-                            true, false)), (String ((Ascii (true, false,
-                            true, true, false, true, true, false)), (String
-                            ((Ascii (false, true, true, false, false, false,
-                            true, false)), (String ((Ascii (true, false,
-                            false, true, false, true, true, false)), (String
-                            ((Ascii (true, false, true, false, false, true,
-                            true, false)), (String ((Ascii (false, false,
-                            true, true, false, true, true, false)), (String
-                            ((Ascii (false, false, true, false, false, true,
-                            true, false)),
-                            EmptyString)))))))))))))))))))))))))) :: [])) :: [])))))) }
-
-(** val l_Addenda17 : layout **)
-
-let l_Addenda17 =
-  { l_name = (String ((Ascii (true, false, false, false, false, false, true,
-    false)), (String ((Ascii (false, false, true, false, false, true, true,
-    false)), (String ((Ascii (false, false, true, false, false, true, true,
-    false)), (String ((Ascii (true, false, true, false, false, true, true,
-    false)), (String ((Ascii (false, true, true, true, false, true, true,
-    false)), (String ((Ascii (false, false, true, false, false, true, true,
-    false)), (String ((Ascii (true, false, false, false, false, true, true,
-    false)), (String ((Ascii (true, false, false, false, true, true, false,
-    false)), (String ((Ascii (true, true, true, false, true, true, false,
-    false)), EmptyString)))))))))))))))))); l_ix = IRune; l_segs = ((SLit
-    ((Npos (XI (XI (XI (XO (XI XH)))))) :: [])) :: ((SRaw (String ((Ascii
-    (false, false, true, false, true, false, true, false)), (String ((Ascii
-    (true, false, false, true, true, true, true, false)), (String ((Ascii
-    (false, false, false, false, true, true, true, false)), (String ((Ascii
-    (true, false, true, false, false, true, true, false)), (String ((Ascii
-    (true, true, false, false, false, false, true, false)), (String ((Ascii
-    (true, true, true, true, false, true, true, false)), (String ((Ascii
-    (false, false, true, false, false, true, true, false)), (String ((Ascii
-    (true, false, true, false, false, true, true, false)),
-    EmptyString))))))))))))))))) :: ((SAlpha ((String ((Ascii (false, false,
-    false, false, true, false, true, false)), (String ((Ascii (true, false,
-    false, false, false, true, true, false)), (String ((Ascii (true, false,
-    false, true, true, true, true, false)), (String ((Ascii (true, false,
-    true, true, false, true, true, false)), (String ((Ascii (true, false,
-    true, false, false, true, true, false)), (String ((Ascii (false, true,
-    true, true, false, true, true, false)), (String ((Ascii (false, false,
-    true, false, true, true, true, false)), (String ((Ascii (false, true,
-    false, false, true, false, true, false)), (String ((Ascii (true, false,
-    true, false, false, true, true, false)), (String ((Ascii (false, false,
-    true, true, false, true, true, false)), (String ((Ascii (true, false,
-    false, false, false, true, true, false)), (String ((Ascii (false, false,
-    true, false, true, true, true, false)), (String ((Ascii (true, false,
-    true, false, false, true, true, false)), (String ((Ascii (false, false,
-    true, false, false, true, true, false)), (String ((Ascii (true, false,
-    false, true, false, false, true, false)), (String ((Ascii (false, true,
-    true, true, false, true, true, false)), (String ((Ascii (false, true,
-    true, false, false, true, true, false)), (String ((Ascii (true, true,
-    true, true, false, true, true, false)), (String ((Ascii (false, true,
-    false, false, true, true, true, false)), (String ((Ascii (true, false,
-    true, true, false, true, true, false)), (String ((Ascii (true, false,
-    false, false, false, true, true, false)), (String ((Ascii (false, false,
-    true, false, true, true, true, false)), (String ((Ascii (true, false,
-    false, true, false, true, true, false)), (String ((Ascii (true, true,
-    true, true, false, true, true, false)), (String ((Ascii (false, true,
-    true, true, false, true, true, false)),
-    EmptyString)))))))))))))))))))))))))))))))))))))))))))))))))), (S (S (S
-    (S (S (S (S (S (S (S (S (S (S (S (S (S (S (S (S (S (S (S (S (S (S (S (S
-    (S (S (S (S (S (S (S (S (S (S (S (S (S (S (S (S (S (S (S (S (S (S (S (S
-    (S (S (S (S (S (S (S (S (S (S (S (S (S (S (S (S (S (S (S (S (S (S (S (S
-    (S (S (S (S (S
-    O)))))))))))))))))))))))))))))))))))))))))))))))))))))))))))))))))))))))))))))))))) :: ((SNum
-    ((String ((Ascii (true, true, false, false, true, false, true, false)),
-    (String ((Ascii (true, false, true, false, false, true, true, false)),
-    (String ((Ascii (true, false, false, false, true, true, true, false)),
-    (String ((Ascii (true, false, true, false, true, true, true, false)),
-    (String ((Ascii (true, false, true, false, false, true, true, false)),
-    (String ((Ascii (false, true, true, true, false, true, true, false)),
-    (String ((Ascii (true, true, false, false, false, true, true, false)),
-    (String ((Ascii (true, false, true, false, false, true, true, false)),
-    (String ((Ascii (false, true, true, true, false, false, true, false)),
-    (String ((Ascii (true, false, true, false, true, true, true, false)),
-    (String ((Ascii (true, false, true, true, false, true, true, false)),
-    (String ((Ascii (false, true, false, false, false, true, true, false)),
-    (String ((Ascii (true, false, true, false, false, true, true, false)),
-    (String ((Ascii (false, true, false, false, true, true, true, false)),
-    EmptyString)))))))))))))))))))))))))))), (S (S (S (S O)))))) :: ((SNum
-    ((String ((Ascii (true, false, true, false, false, false, true, false)),
-    (String ((Ascii (false, true, true, true, false, true, true, false)),
-    (String ((Ascii (false, false, true, false, true, true, true, false)),
-    (String ((Ascii (false, true, false, false, true, true, true, false)),
-    (String ((Ascii (true, false, false, true, true, true, true, false)),
-    (String ((Ascii (false, false, true, false, false, false, true, false)),
-    (String ((Ascii (true, false, true, false, false, true, true, false)),
-    (String ((Ascii (false, false, true, false, true, true, true, false)),
-    (String ((Ascii (true, false, false, false, false, true, true, false)),
-    (String ((Ascii (true, false, false, true, false, true, true, false)),
-    (String ((Ascii (false, false, true, true, false, true, true, false)),
-    (String ((Ascii (true, true, false, false, true, false, true, false)),
-    (String ((Ascii (true, false, true, false, false, true, true, false)),
-    (String ((Ascii (true, false, false, false, true, true, true, false)),
-    (String ((Ascii (true, false, true, false, true, true, true, false)),
-    (String ((Ascii (true, false, true, false, false, true, true, false)),
-    (String ((Ascii (false, true, true, true, false, true, true, false)),
-    (String ((Ascii (true, true, false, false, false, true, true, false)),
-    (String ((Ascii (true, false, true, false, false, true, true, false)),
-    (String ((Ascii (false, true, true, true, false, false, true, false)),
-    (String ((Ascii (true, false, true, false, true, true, true, false)),
-    (String ((Ascii (true, false, true, true, false, true, true, false)),
-    (String ((Ascii (false, true, false, false, false, true, true, false)),
-    (String ((Ascii (true, false, true, false, false, true, true, false)),
-    (String ((Ascii (false, true, false, false, true, true, true, false)),
-    EmptyString)))))))))))))))))))))))))))))))))))))))))))))))))), (S (S (S
-    (S (S (S (S O))))))))) :: []))))); l_cuts =
-    ((mkcut O (S O) EmptyString []) :: ((mkcut (S O) (S (S (S O))) (String
-                                          ((Ascii (false, false, true, false,
-                                          true, false, true, false)), (String
-                                          ((Ascii (true, false, false, true,
-                                          true, true, true, false)), (String
-                                          ((Ascii (false, false, false,
-                                          false, true, true, true, false)),
-                                          (String ((Ascii (true, false, true,
-                                          false, false, true, true, false)),
-                                          (String ((Ascii (true, true, false,
-                                          false, false, false, true, false)),
-                                          (String ((Ascii (true, true, true,
-                                          true, false, true, true, false)),
-                                          (String ((Ascii (false, false,
-                                          true, false, false, true, true,
-                                          false)), (String ((Ascii (true,
-                                          false, true, false, false, true,
-                                          true, false)),
-                                          EmptyString)))))))))))))))) []) :: (
-    (mkcut (S (S (S O))) (S (S (S (S (S (S (S (S (S (S (S (S (S (S (S (S (S
-      (S (S (S (S (S (S (S (S (S (S (S (S (S (S (S (S (S (S (S (S (S (S (S (S
-      (S (S (S (S (S (S (S (S (S (S (S (S (S (S (S (S (S (S (S (S (S (S (S (S
-      (S (S (S (S (S (S (S (S (S (S (S (S (S (S (S (S (S (S
-      O)))))))))))))))))))))))))))))))))))))))))))))))))))))))))))))))))))))))))))))))))))
-      (String ((Ascii (false, false, false, false, true, false, true,
-      false)), (String ((Ascii (true, false, false, false, false, true, true,
-      false)), (String ((Ascii (true, false, false, true, true, true, true,
-      false)), (String ((Ascii (true, false, true, true, false, true, true,
-      false)), (String ((Ascii (true, false, true, false, false, true, true,
-      false)), (String ((Ascii (false, true, true, true, false, true, true,
-      false)), (String ((Ascii (false, false, true, false, true, true, true,
-      false)), (String ((Ascii (false, true, false, false, true, false, true,
-      false)), (String ((Ascii (true, false, true, false, false, true, true,
-      false)), (String ((Ascii (false, false, true, true, false, true, true,
-      false)), (String ((Ascii (true, false, false, false, false, true, true,
-      false)), (String ((Ascii (false, false, true, false, true, true, true,
-      false)), (String ((Ascii (true, false, true, false, false, true, true,
-      false)), (String ((Ascii (false, false, true, false, false, true, true,
-      false)), (String ((Ascii (true, false, false, true, false, false, true,
-      false)), (String ((Ascii (false, true, true, true, false, true, true,
-      false)), (String ((Ascii (false, true, true, false, false, true, true,
-      false)), (String ((Ascii (true, true, true, true, false, true, true,
-      false)), (String ((Ascii (false, true, false, false, true, true, true,
-      false)), (String ((Ascii (true, false, true, true, false, true, true,
-      false)), (String ((Ascii (true, false, false, false, false, true, true,
-      false)), (String ((Ascii (false, false, true, false, true, true, true,
-      false)), (String ((Ascii (true, false, false, true, false, true, true,
-      false)), (String ((Ascii (true, true, true, true, false, true, true,
-      false)), (String ((Ascii (false, true, true, true, false, true, true,
-      false)), EmptyString))))))))))))))))))))))))))))))))))))))))))))))))))
-      ((String ((Ascii (true, true, false, false, true, true, true, false)),
-      (String ((Ascii (false, false, true, false, true, true, true, false)),
-      (String ((Ascii (false, true, false, false, true, true, true, false)),
-      (String ((Ascii (true, false, false, true, false, true, true, false)),
-      (String ((Ascii (false, true, true, true, false, true, true, false)),
-      (String ((Ascii (true, true, true, false, false, true, true, false)),
-      (String ((Ascii (true, true, false, false, true, true, true, false)),
-      (String ((Ascii (false, true, true, true, false, true, false, false)),
-      (String ((Ascii (false, false, true, false, true, false, true, false)),
-      (String ((Ascii (false, true, false, false, true, true, true, false)),
-      (String ((Ascii (true, false, false, true, false, true, true, false)),
-      (String ((Ascii (true, false, true, true, false, true, true, false)),
-      (String ((Ascii (true, true, false, false, true, false, true, false)),
-      (String ((Ascii (false, false, false, false, true, true, true, false)),
-      (String ((Ascii (true, false, false, false, false, true, true, false)),
-      (String ((Ascii (true, true, false, false, false, true, true, false)),
-      (String ((Ascii (true, false, true, false, false, true, true, false)),
-      EmptyString)))))))))))))))))))))))))))))))))) :: [])) :: ((mkcut (S (S
-                                                                  (S (S (S (S
-                                                                  (S (S (S (S
-                                                                  (S (S (S (S
-                                                                  (S (S (S (S
-                                                                  (S (S (S (S
-                                                                  (S (S (S (S
-                                                                  (S (S (S (S
-                                                                  (S (S (S (S
-                                                                  (S (S (S (S
-                                                                  (S (S (S (S
-                                                                  (S (S (S (S
-                                                                  (S (S (S (S
-                                                                  (S (S (S (S
-                                                                  (S (S (S (S
-                                                                  (S (S (S (S
-                                                                  (S (S (S (S
-                                                                  (S (S (S (S
-                                                                  (S (S (S (S
-                                                                  (S (S (S (S
-                                                                  (S (S (S (S
-                                                                  (S
-                                                                  O)))))))))))))))))))))))))))))))))))))))))))))))))))))))))))))))))))))))))))))))))))
-                                                                  (S (S (S (S
-                                                                  (S (S (S (S
-                                                                  (S (S (S (S
-                                                                  (S (S (S (S
-                                                                  (S (S (S (S
-                                                                  (S (S (S (S
-                                                                  (S (S (S (S
-                                                                  (S (S (S (S
-                                                                  (S (S (S (S
-                                                                  (S (S (S (S
-                                                                  (S (S (S (S
-                                                                  (S (S (S (S
-                                                                  (S (S (S (S
-                                                                  (S (S (S (S
-                                                                  (S (S (S (S
-                                                                  (S (S (S (S
-                                                                  (S (S (S (S
-                                                                  (S (S (S (S
-                                                                  (S (S (S (S
-                                                                  (S (S (S (S
-                                                                  (S (S (S (S
-                                                                  (S (S (S
-                                                                  O)))))))))))))))))))))))))))))))))))))))))))))))))))))))))))))))))))))))))))))))))))))))
-                                                                  (String
-                                                                  ((Ascii
-                                                                  (true,
-                                                                  true,
-                                                                  false,
-                                                                  false,
-                                                                  true,
-                                                                  false,
-                                                                  true,
-                                                                  false)),
-                                                                  (String
-                                                                  ((Ascii
-                                                                  (true,
-                                                                  false,
-                                                                  true,
-                                                                  false,
-                                                                  false,
-                                                                  true, true,
-                                                                  false)),
-                                                                  (String
-                                                                  ((Ascii
-                                                                  (true,
-                                                                  false,
-                                                                  false,
-                                                                  false,
-                                                                  true, true,
-                                                                  true,
-                                                                  false)),
-                                                                  (String
-                                                                  ((Ascii
-                                                                  (true,
-                                                                  false,
-                                                                  true,
-                                                                  false,
-                                                                  true, true,
-                                                                  true,
-                                                                  false)),
-                                                                  (String
-                                                                  ((Ascii
-                                                                  (true,
-                                                                  false,
-                                                                  true,
-                                                                  false,
-                                                                  false,
-                                                                  true, true,
-                                                                  false)),
-                                                                  (String
-                                                                  ((Ascii
-                                                                  (false,
-                                                                  true, true,
-                                                                  true,
-                                                                  false,
-                                                                  true, true,
-                                                                  false)),
-                                                                  (String
-                                                                  ((Ascii
-                                                                  (true,
-                                                                  true,
-                                                                  false,
-                                                                  false,
-                                                                  false,
-                                                                  true, true,
-                                                                  false)),
-                                                                  (String
-                                                                  ((Ascii
-                                                                  (true,
-                                                                  false,
-                                                                  true,
-                                                                  false,
-                                                                  false,
-                                                                  true, true,
-                                                                  false)),
-                                                                  (String
-                                                                  ((Ascii
-                                                                  (false,
-                                                                  true, true,
-                                                                  true,
-                                                                  false,
-                                                                  false,
-                                                                  true,
-                                                                  false)),
-                                                                  (String
-                                                                  ((Ascii
-                                                                  (true,
-                                                                  false,
-                                                                  true,
-                                                                  false,
-                                                                  true, true,
-                                                                  true,
-                                                                  false)),
-                                                                  (String
-                                                                  ((Ascii
-                                                                  (true,
-                                                                  false,
-                                                                  true, true,
-                                                                  false,
-                                                                  true, true,
-                                                                  false)),
-                                                                  (String
-                                                                  ((Ascii
-                                                                  (false,
-                                                                  true,
-                                                                  false,
-                                                                  false,
-                                                                  false,
-                                                                  true, true,
-                                                                  false)),
-                                                                  (String
-                                                                  ((Ascii
-                                                                  (true,
-                                                                  false,
-                                                                  true,
-                                                                  false,
-                                                                  false,
-                                                                  true, true,
-                                                                  false)),
-                                                                  (String
-                                                                  ((Ascii
-                                                                  (false,
-                                                                  true,
-                                                                  false,
-                                                                  false,
-                                                                  true, true,
-                                                                  true,
-                                                                  false)),
-                                                                  EmptyString))))))))))))))))))))))))))))
-                                                                  ((String
-                                                                  ((Ascii
-                                                                  (false,
-                                                                  false,
-                                                                  false,
-                                                                  false,
-                                                                  true, true,
-                                                                  true,
-                                                                  false)),
-                                                                  (String
-                                                                  ((Ascii
-                                                                  (true,
-                                                                  false,
-                                                                  false,
-                                                                  false,
-                                                                  false,
-                                                                  true, true,
-                                                                  false)),
-                                                                  (String
-                                                                  ((Ascii
-                                                                  (false,
-                                                                  true,
-                                                                  false,
-                                                                  false,
-                                                                  true, true,
-                                                                  true,
-                                                                  false)),
-                                                                  (String
-                                                                  ((Ascii
-                                                                  (true,
-                                                                  true,
-                                                                  false,
-                                                                  false,
-                                                                  true, true,
-                                                                  true,
-                                                                  false)),
-                                                                  (String
-                                                                  ((Ascii
-                                                                  (true,
-                                                                  false,
-                                                                  true,
-                                                                  false,
-                                                                  false,
-                                                                  true, true,
-                                                                  false)),
-                                                                  (String
-                                                                  ((Ascii
-                                                                  (false,
-                                                                  true, true,
-                                                                  true,
-                                                                  false,
-                                                                  false,
-                                                                  true,
-                                                                  false)),
-                                                                  (String
-                                                                  ((Ascii
-                                                                  (true,
-                                                                  false,
-                                                                  true,
-                                                                  false,
-                                                                  true, true,
-                                                                  true,
-                                                                  false)),
-                                                                  (String
-                                                                  ((Ascii
-                                                                  (true,
-                                                                  false,
-                                                                  true, true,
-                                                                  false,
-                                                                  true, true,
-                                                                  false)),
-                                                                  (String
-                                                                  ((Ascii
-                                                                  (false,
-                                                                  true, true,
-                                                                  false,
-                                                                  false,
-                                                                  false,
-                                                                  true,
-                                                                  false)),
-                                                                  (String
-                                                                  ((Ascii
-                                                                  (true,
-                                                                  false,
-                                                                  false,
-                                                                  true,
-                                                                  false,
-                                                                  true, true,
-                                                                  false)),
-                                                                  (String
-                                                                  ((Ascii
-                                                                  (true,
-                                                                  false,
-                                                                  true,
-                                                                  false,
-                                                                  false,
-                                                                  true, true,
-                                                                  false)),
-                                                                  (String
-                                                                  ((Ascii
-                                                                  (false,
-                                                                  false,
-                                                                  true, true,
-                                                                  false,
-                                                                  true, true,
-                                                                  false)),
-                                                                  (String
-                                                                  ((Ascii
-                                                                  (false,
-                                                                  false,
-                                                                  true,
-                                                                  false,
-                                                                  false,
-                                                                  true, true,
-                                                                  false)),
-                                                                  EmptyString)))))))))))))))))))))))))) :: [])) :: (
-    (mkcut (S (S (S (S (S (S (S (S (S (S (S (S (S (S (S (S (S (S (S (S (S (S
-      (S (S (S (S (S (S (S (S (S (S (S (S (S (S (S (S (S (S (S (S (S (S (S (S
-      (S (S (S (S (S (S (S (S (S (S (S (S (S (S (S (S (S (S (S (S (S (S (S (S
-      (S (S (S (S (S (S (S (S (S (S (S (S (S (S (S (S (S
-      O)))))))))))))))))))))))))))))))))))))))))))))))))))))))))))))))))))))))))))))))))))))))
-      (S (S (S (S (S (S (S (S (S (S (S (S (S (S (S (S (S (S (S (S (S (S (S (S
-      (S (S (S (S (S (S (S (S (S (S (S (S (S (S (S (S (S (S (S (S (S (S (S (S
-      (S (S (S (S (S (S (S (S (S (S (S (S (S (S (S (S (S (S (S (S (S (S (S (S
-      (S (S (S (S (S (S (S (S (S (S (S (S (S (S (S (S (S (S (S (S (S (S
-      O))))))))))))))))))))))))))))))))))))))))))))))))))))))))))))))))))))))))))))))))))))))))))))))
-      (String ((Ascii (true, false, true, false, false, false, true, false)),
-      (String ((Ascii (false, true, true, true, false, true, true, false)),
-      (String ((Ascii (false, false, true, false, true, true, true, false)),
-      (String ((Ascii (false, true, false, false, true, true, true, false)),
-      (String ((Ascii (true, false, false, true, true, true, true, false)),
-      (String ((Ascii (false, false, true, false, false, false, true,
-      false)), (String ((Ascii (true, false, true, false, false, true, true,
-      false)), (String ((Ascii (false, false, true, false, true, true, true,
-      false)), (String ((Ascii (true, false, false, false, false, true, true,
-      false)), (String ((Ascii (true, false, false, true, false, true, true,
-      false)), (String ((Ascii (false, false, true, true, false, true, true,
-      false)), (String ((Ascii (true, true, false, false, true, false, true,
-      false)), (String ((Ascii (true, false, true, false, false, true, true,
-      false)), (String ((Ascii (true, false, false, false, true, true, true,
-      false)), (String ((Ascii (true, false, true, false, true, true, true,
-      false)), (String ((Ascii (true, false, true, false, false, true, true,
-      false)), (String ((Ascii (false, true, true, true, false, true, true,
-      false)), (String ((Ascii (true, true, false, false, false, true, true,
-      false)), (String ((Ascii (true, false, true, false, false, true, true,
-      false)), (String ((Ascii (false, true, true, true, false, false, true,
-      false)), (String ((Ascii (true, false, true, false, true, true, true,
-      false)), (String ((Ascii (true, false, true, true, false, true, true,
-      false)), (String ((Ascii (false, true, false, false, false, true, true,
-      false)), (String ((Ascii (true, false, true, false, false, true, true,
-      false)), (String ((Ascii (false, true, false, false, true, true, true,
-      false)), EmptyString))))))))))))))))))))))))))))))))))))))))))))))))))
-      ((String ((Ascii (false, false, false, false, true, true, true,
-      false)), (String ((Ascii (true, false, false, false, false, true, true,
-      false)), (String ((Ascii (false, true, false, false, true, true, true,
-      false)), (String ((Ascii (true, true, false, false, true, true, true,
-      false)), (String ((Ascii (true, false, true, false, false, true, true,
-      false)), (String ((Ascii (false, true, true, true, false, false, true,
-      false)), (String ((Ascii (true, false, true, false, true, true, true,
-      false)), (String ((Ascii (true, false, true, true, false, true, true,
-      false)), (String ((Ascii (false, true, true, false, false, false, true,
-      false)), (String ((Ascii (true, false, false, true, false, true, true,
-      false)), (String ((Ascii (true, false, true, false, false, true, true,
-      false)), (String ((Ascii (false, false, true, true, false, true, true,
-      false)), (String ((Ascii (false, false, true, false, false, true, true,
-      false)), EmptyString)))))))))))))))))))))))))) :: [])) :: []))))) }
-
-(** val l_Addenda18 : layout **)
-
-let l_Addenda18 =
-  { l_name = (String ((Ascii (true, false, false, false, false, false, true,
-    false)), (String ((Ascii (false, false, true, false, false, true, true,
-    false)), (String ((Ascii (false, false, true, false, false, true, true,
-    false)), (String ((Ascii (true, false, true, false, false, true, true,
-    false)), (String ((Ascii (false, true, true, true, false, true, true,
-    false)), (String ((Ascii (false, false, true, false, false, true, true,
-    false)), (String ((Ascii (true, false, false, false, false, true, true,
-    false)), (String ((Ascii (true, false, false, false, true, true, false,
-    false)), (String ((Ascii (false, false, false, true, true, true, false,
-    false)), EmptyString)))))))))))))))))); l_ix = IRune; l_segs = ((SLit
-    ((Npos (XI (XI (XI (XO (XI XH)))))) :: [])) :: ((SRaw (String ((Ascii
-    (false, false, true, false, true, false, true, false)), (String ((Ascii
-    (true, false, false, true, true, true, true, false)), (String ((Ascii
-    (false, false, false, false, true, true, true, false)), (String ((Ascii
-    (true, false, true, false, false, true, true, false)), (String ((Ascii
-    (true, true, false, false, false, false, true, false)), (String ((Ascii
-    (true, true, true, true, false, true, true, false)), (String ((Ascii
-    (false, false, true, false, false, true, true, false)), (String ((Ascii
-    (true, false, true, false, false, true, true, false)),
-    EmptyString))))))))))))))))) :: ((SAlpha ((String ((Ascii (false, true,
-    true, false, false, false, true, false)), (String ((Ascii (true, true,
-    true, true, false, true, true, false)), (String ((Ascii (false, true,
-    false, false, true, true, true, false)), (String ((Ascii (true, false,
-    true, false, false, true, true, false)), (String ((Ascii (true, false,
-    false, true, false, true, true, false)), (String ((Ascii (true, true,
-    true, false, false, true, true, false)), (String ((Ascii (false, true,
-    true, true, false, true, true, false)), (String ((Ascii (true, true,
-    false, false, false, false, true, false)), (String ((Ascii (true, true,
-    true, true, false, true, true, false)), (String ((Ascii (false, true,
-    false, false, true, true, true, false)), (String ((Ascii (false, true,
-    false, false, true, true, true, false)), (String ((Ascii (true, false,
-    true, false, false, true, true, false)), (String ((Ascii (true, true,
-    false, false, true, true, true, false)), (String ((Ascii (false, false,
-    false, false, true, true, true, false)), (String ((Ascii (true, true,
-    true, true, false, true, true, false)), (String ((Ascii (false, true,
-    true, true, false, true, true, false)), (String ((Ascii (false, false,
-    true, false, false, true, true, false)), (String ((Ascii (true, false,
-    true, false, false, true, true, false)), (String ((Ascii (false, true,
-    true, true, false, true, true, false)), (String ((Ascii (false, false,
-    true, false, true, true, true, false)), (String ((Ascii (false, true,
-    false, false, false, false, true, false)), (String ((Ascii (true, false,
-    false, false, false, true, true, false)), (String ((Ascii (false, true,
-    true, true, false, true, true, false)), (String ((Ascii (true, true,
-    false, true, false, true, true, false)), (String ((Ascii (false, true,
-    true, true, false, false, true, false)), (String ((Ascii (true, false,
-    false, false, false, true, true, false)), (String ((Ascii (true, false,
-    true, true, false, true, true, false)), (String ((Ascii (true, false,
-    true, false, false, true, true, false)),
-    EmptyString)))))))))))))))))))))))))))))))))))))))))))))))))))))))), (S
-    (S (S (S (S (S (S (S (S (S (S (S (S (S (S (S (S (S (S (S (S (S (S (S (S
-    (S (S (S (S (S (S (S (S (S (S
-    O))))))))))))))))))))))))))))))))))))) :: ((SAlpha ((String ((Ascii
-    (false, true, true, false, false, false, true, false)), (String ((Ascii
-    (true, true, true, true, false, true, true, false)), (String ((Ascii
-    (false, true, false, false, true, true, true, false)), (String ((Ascii
-    (true, false, true, false, false, true, true, false)), (String ((Ascii
-    (true, false, false, true, false, true, true, false)), (String ((Ascii
-    (true, true, true, false, false, true, true, false)), (String ((Ascii
-    (false, true, true, true, false, true, true, false)), (String ((Ascii
-    (true, true, false, false, false, false, true, false)), (String ((Ascii
-    (true, true, true, true, false, true, true, false)), (String ((Ascii
-    (false, true, false, false, true, true, true, false)), (String ((Ascii
-    (false, true, false, false, true, true, true, false)), (String ((Ascii
-    (true, false, true, false, false, true, true, false)), (String ((Ascii
-    (true, true, false, false, true, true, true, false)), (String ((Ascii
-    (false, false, false, false, true, true, true, false)), (String ((Ascii
-    (true, true, true, true, false, true, true, false)), (String ((Ascii
-    (false, true, true, true, false, true, true, false)), (String ((Ascii
-    (false, false, true, false, false, true, true, false)), (String ((Ascii
-    (true, false, true, false, false, true, true, false)), (String ((Ascii
-    (false, true, true, true, false, true, true, false)), (String ((Ascii
-    (false, false, true, false, true, true, true, false)), (String ((Ascii
-    (false, true, false, false, false, false, true, false)), (String ((Ascii
-    (true, false, false, false, false, true, true, false)), (String ((Ascii
-    (false, true, true, true, false, true, true, false)), (String ((Ascii
-    (true, true, false, true, false, true, true, false)), (String ((Ascii
-    (true, false, false, true, false, false, true, false)), (String ((Ascii
-    (false, false, true, false, false, false, true, false)), (String ((Ascii
-    (false, true, true, true, false, false, true, false)), (String ((Ascii
-    (true, false, true, false, true, true, true, false)), (String ((Ascii
-    (true, false, true, true, false, true, true, false)), (String ((Ascii
-    (false, true, false, false, false, true, true, false)), (String ((Ascii
-    (true, false, true, false, false, true, true, false)), (String ((Ascii
-    (false, true, false, false, true, true, true, false)), (String ((Ascii
-    (true, false, false, false, true, false, true, false)), (String ((Ascii
-    (true, false, true, false, true, true, true, false)), (String ((Ascii
-    (true, false, false, false, false, true, true, false)), (String ((Ascii
-    (false, false, true, true, false, true, true, false)), (String ((Ascii
-    (true, false, false, true, false, true, true, false)), (String ((Ascii
-    (false, true, true, false, false, true, true, false)), (String ((Ascii
-    (true, false, false, true, false, true, true, false)), (String ((Ascii
-    (true, false, true, false, false, true, true, false)), (String ((Ascii
-    (false, true, false, false, true, true, true, false)),
-    EmptyString)))))))))))))))))))))))))))))))))))))))))))))))))))))))))))))))))))))))))))))))))),
-    (S (S O)))) :: ((SAlpha ((String ((Ascii (false, true, true, false,
-    false, false, true, false)), (String ((Ascii (true, true, true, true,
-    false, true, true, false)), (String ((Ascii (false, true, false, false,
-    true, true, true, false)), (String ((Ascii (true, false, true, false,
-    false, true, true, false)), (String ((Ascii (true, false, false, true,
-    false, true, true, false)), (String ((Ascii (true, true, true, false,
-    false, true, true, false)), (String ((Ascii (false, true, true, true,
-    false, true, true, false)), (String ((Ascii (true, true, false, false,
-    false, false, true, false)), (String ((Ascii (true, true, true, true,
-    false, true, true, false)), (String ((Ascii (false, true, false, false,
-    true, true, true, false)), (String ((Ascii (false, true, false, false,
-    true, true, true, false)), (String ((Ascii (true, false, true, false,
-    false, true, true, false)), (String ((Ascii (true, true, false, false,
-    true, true, true, false)), (String ((Ascii (false, false, false, false,
-    true, true, true, false)), (String ((Ascii (true, true, true, true,
-    false, true, true, false)), (String ((Ascii (false, true, true, true,
-    false, true, true, false)), (String ((Ascii (false, false, true, false,
-    false, true, true, false)), (String ((Ascii (true, false, true, false,
-    false, true, true, false)), (String ((Ascii (false, true, true, true,
-    false, true, true, false)), (String ((Ascii (false, false, true, false,
-    true, true, true, false)), (String ((Ascii (false, true, false, false,
-    false, false, true, false)), (String ((Ascii (true, false, false, false,
-    false, true, true, false)), (String ((Ascii (false, true, true, true,
-    false, true, true, false)), (String ((Ascii (true, true, false, true,
-    false, true, true, false)), (String ((Ascii (true, false, false, true,
-    false, false, true, false)), (String ((Ascii (false, false, true, false,
-    false, false, true, false)), (String ((Ascii (false, true, true, true,
-    false, false, true, false)), (String ((Ascii (true, false, true, false,
-    true, true, true, false)), (String ((Ascii (true, false, true, true,
-    false, true, true, false)), (String ((Ascii (false, true, false, false,
-    false, true, true, false)), (String ((Ascii (true, false, true, false,
-    false, true, true, false)), (String ((Ascii (false, true, false, false,
-    true, true, true, false)),
-    EmptyString)))))))))))))))))))))))))))))))))))))))))))))))))))))))))))))))),
-    (S (S (S (S (S (S (S (S (S (S (S (S (S (S (S (S (S (S (S (S (S (S (S (S
-    (S (S (S (S (S (S (S (S (S (S
-    O)))))))))))))))))))))))))))))))))))) :: ((SAlpha ((String ((Ascii
-    (false, true, true, false, false, false, true, false)), (String ((Ascii
-    (true, true, true, true, false, true, true, false)), (String ((Ascii
-    (false, true, false, false, true, true, true, false)), (String ((Ascii
-    (true, false, true, false, false, true, true, false)), (String ((Ascii
-    (true, false, false, true, false, true, true, false)), (String ((Ascii
-    (true, true, true, false, false, true, true, false)), (String ((Ascii
-    (false, true, true, true, false, true, true, false)), (String ((Ascii
-    (true, true, false, false, false, false, true, false)), (String ((Ascii
-    (true, true, true, true, false, true, true, false)), (String ((Ascii
-    (false, true, false, false, true, true, true, false)), (String ((Ascii
-    (false, true, false, false, true, true, true, false)), (String ((Ascii
-    (true, false, true, false, false, true, true, false)), (String ((Ascii
-    (true, true, false, false, true, true, true, false)), (String ((Ascii
-    (false, false, false, false, true, true, true, false)), (String ((Ascii
-    (true, true, true, true, false, true, true, false)), (String ((Ascii
-    (false, true, true, true, false, true, true, false)), (String ((Ascii
-    (false, false, true, false, false, true, true, false)), (String ((Ascii
-    (true, false, true, false, false, true, true, false)), (String ((Ascii
-    (false, true, true, true, false, true, true, false)), (String ((Ascii
-    (false, false, true, false, true, true, true, false)), (String ((Ascii
-    (false, true, false, false, false, false, true, false)), (String ((Ascii
-    (true, false, false, false, false, true, true, false)), (String ((Ascii
-    (false, true, true, true, false, true, true, false)), (String ((Ascii
-    (true, true, false, true, false, true, true, false)), (String ((Ascii
-    (false, true, false, false, false, false, true, false)), (String ((Ascii
-    (false, true, false, false, true, true, true, false)), (String ((Ascii
-    (true, false, false, false, false, true, true, false)), (String ((Ascii
-    (false, true, true, true, false, true, true, false)), (String ((Ascii
-    (true, true, false, false, false, true, true, false)), (String ((Ascii
-    (false, false, false, true, false, true, true, false)), (String ((Ascii
-    (true, true, false, false, false, false, true, false)), (String ((Ascii
-    (true, true, true, true, false, true, true, false)), (String ((Ascii
-    (true, false, true, false, true, true, true, false)), (String ((Ascii
-    (false, true, true, true, false, true, true, false)), (String ((Ascii
-    (false, false, true, false, true, true, true, false)), (String ((Ascii
-    (false, true, false, false, true, true, true, false)), (String ((Ascii
-    (true, false, false, true, true, true, true, false)), (String ((Ascii
-    (true, true, false, false, false, false, true, false)), (String ((Ascii
-    (true, true, true, true, false, true, true, false)), (String ((Ascii
-    (false, false, true, false, false, true, true, false)), (String ((Ascii
-    (true, false, true, false, false, true, true, false)),
-    EmptyString)))))))))))))))))))))))))))))))))))))))))))))))))))))))))))))))))))))))))))))))))),
-    (S (S (S O))))) :: ((SLit ((Npos (XO (XO (XO (XO (XO XH)))))) :: ((Npos
-    (XO (XO (XO (XO (XO XH)))))) :: ((Npos (XO (XO (XO (XO (XO
-    XH)))))) :: ((Npos (XO (XO (XO (XO (XO XH)))))) :: ((Npos (XO (XO (XO (XO
-    (XO XH)))))) :: ((Npos (XO (XO (XO (XO (XO
-    XH)))))) :: []))))))) :: ((SNum ((String ((Ascii (true, true, false,
-    false, true, false, true, false)), (String ((Ascii (true, false, true,
-    false, false, true, true, false)), (String ((Ascii (true, false, false,
-    false, true, true, true, false)), (String ((Ascii (true, false, true,
-    false, true, true, true, false)), (String ((Ascii (true, false, true,
-    false, false, true, true, false)), (String ((Ascii (false, true, true,
-    true, false, true, true, false)), (String ((Ascii (true, true, false,
-    false, false, true, true, false)), (String ((Ascii (true, false, true,
-    false, false, true, true, false)), (String ((Ascii (false, true, true,
-    true, false, false, true, false)), (String ((Ascii (true, false, true,
-    false, true, true, true, false)), (String ((Ascii (true, false, true,
-    true, false, true, true, false)), (String ((Ascii (false, true, false,
-    false, false, true, true, false)), (String ((Ascii (true, false, true,
-    false, false, true, true, false)), (String ((Ascii (false, true, false,
-    false, true, true, true, false)),
-    EmptyString)))))))))))))))))))))))))))), (S (S (S (S O)))))) :: ((SNum
-    ((String ((Ascii (true, false, true, false, false, false, true, false)),
-    (String ((Ascii (false, true, true, true, false, true, true, false)),
-    (String ((Ascii (false, false, true, false, true, true, true, false)),
-    (String ((Ascii (false, true, false, false, true, true, true, false)),
-    (String ((Ascii (true, false, false, true, true, true, true, false)),
-    (String ((Ascii (false, false, true, false, false, false, true, false)),
-    (String ((Ascii (true, false, true, false, false, true, true, false)),
-    (String ((Ascii (false, false, true, false, true, true, true, false)),
-    (String ((Ascii (true, false, false, false, false, true, true, false)),
-    (String ((Ascii (true, false, false, true, false, true, true, false)),
-    (String ((Ascii (false, false, true, true, false, true, true, false)),
-    (String ((Ascii (true, true, false, false, true, false, true, false)),
-    (String ((Ascii (true, false, true, false, false, true, true, false)),
-    (String ((Ascii (true, false, false, false, true, true, true, false)),
-    (String ((Ascii (true, false, true, false, true, true, true, false)),
-    (String ((Ascii (true, false, true, false, false, true, true, false)),
-    (String ((Ascii (false, true, true, true, false, true, true, false)),
-    (String ((Ascii (true, true, false, false, false, true, true, false)),
-    (String ((Ascii (true, false, true, false, false, true, true, false)),
-    (String ((Ascii (false, true, true, true, false, false, true, false)),
-    (String ((Ascii (true, false, true, false, true, true, true, false)),
-    (String ((Ascii (true, false, true, true, false, true, true, false)),
-    (String ((Ascii (false, true, false, false, false, true, true, false)),
-    (String ((Ascii (true, false, true, false, false, true, true, false)),
-    (String ((Ascii (false, true, false, false, true, true, true, false)),
-    EmptyString)))))))))))))))))))))))))))))))))))))))))))))))))), (S (S (S
-    (S (S (S (S O))))))))) :: []))))))))); l_cuts =
-    ((mkcut O (S O) EmptyString []) :: ((mkcut (S O) (S (S (S O))) (String
-                                          ((Ascii (false, false, true, false,
-                                          true, false, true, false)), (String
-                                          ((Ascii (true, false, false, true,
-                                          true, true, true, false)), (String
-                                          ((Ascii (false, false, false,
-                                          false, true, true, true, false)),
-                                          (String ((Ascii (true, false, true,
-                                          false, false, true, true, false)),
-                                          (String ((Ascii (true, true, false,
-                                          false, false, false, true, false)),
-                                          (String ((Ascii (true, true, true,
-                                          true, false, true, true, false)),
-                                          (String ((Ascii (false, false,
-                                          true, false, false, true, true,
-                                          false)), (String ((Ascii (true,
-                                          false, true, false, false, true,
-                                          true, false)),
-                                          EmptyString)))))))))))))))) []) :: (
-    (mkcut (S (S (S O))) (S (S (S (S (S (S (S (S (S (S (S (S (S (S (S (S (S
-      (S (S (S (S (S (S (S (S (S (S (S (S (S (S (S (S (S (S (S (S (S
-      O)))))))))))))))))))))))))))))))))))))) (String ((Ascii (false, true,
-      true, false, false, false, true, false)), (String ((Ascii (true, true,
-      true, true, false, true, true, false)), (String ((Ascii (false, true,
-      false, false, true, true, true, false)), (String ((Ascii (true, false,
-      true, false, false, true, true, false)), (String ((Ascii (true, false,
-      false, true, false, true, true, false)), (String ((Ascii (true, true,
-      true, false, false, true, true, false)), (String ((Ascii (false, true,
-      true, true, false, true, true, false)), (String ((Ascii (true, true,
-      false, false, false, false, true, false)), (String ((Ascii (true, true,
-      true, true, false, true, true, false)), (String ((Ascii (false, true,
-      false, false, true, true, true, false)), (String ((Ascii (false, true,
-      false, false, true, true, true, false)), (String ((Ascii (true, false,
-      true, false, false, true, true, false)), (String ((Ascii (true, true,
-      false, false, true, true, true, false)), (String ((Ascii (false, false,
-      false, false, true, true, true, false)), (String ((Ascii (true, true,
-      true, true, false, true, true, false)), (String ((Ascii (false, true,
-      true, true, false, true, true, false)), (String ((Ascii (false, false,
-      true, false, false, true, true, false)), (String ((Ascii (true, false,
-      true, false, false, true, true, false)), (String ((Ascii (false, true,
-      true, true, false, true, true, false)), (String ((Ascii (false, false,
-      true, false, true, true, true, false)), (String ((Ascii (false, true,
-      false, false, false, false, true, false)), (String ((Ascii (true,
-      false, false, false, false, true, true, false)), (String ((Ascii
-      (false, true, true, true, false, true, true, false)), (String ((Ascii
-      (true, true, false, true, false, true, true, false)), (String ((Ascii
-      (false, true, true, true, false, false, true, false)), (String ((Ascii
-      (true, false, false, false, false, true, true, false)), (String ((Ascii
-      (true, false, true, true, false, true, true, false)), (String ((Ascii
-      (true, false, true, false, false, true, true, false)),
-      EmptyString))))))))))))))))))))))))))))))))))))))))))))))))))))))))
-      ((String ((Ascii (true, true, false, false, true, true, true, false)),
-      (String ((Ascii (false, false, true, false, true, true, true, false)),
-      (String ((Ascii (false, true, false, false, true, true, true, false)),
-      (String ((Ascii (true, false, false, true, false, true, true, false)),
-      (String ((Ascii (false, true, true, true, false, true, true, false)),
-      (String ((Ascii (true, true, true, false, false, true, true, false)),
-      (String ((Ascii (true, true, false, false, true, true, true, false)),
-      (String ((Ascii (false, true, true, true, false, true, false, false)),
-      (String ((Ascii (false, false, true, false, true, false, true, false)),
-      (String ((Ascii (false, true, false, false, true, true, true, false)),
-      (String ((Ascii (true, false, false, true, false, true, true, false)),
-      (String ((Ascii (true, false, true, true, false, true, true, false)),
-      (String ((Ascii (true, true, false, false, true, false, true, false)),
-      (String ((Ascii (false, false, false, false, true, true, true, false)),
-      (String ((Ascii (true, false, false, false, false, true, true, false)),
-      (String ((Ascii (true, true, false, false, false, true, true, false)),
-      (String ((Ascii (true, false, true, false, false, true, true, false)),
-      EmptyString)))))))))))))))))))))))))))))))))) :: [])) :: ((mkcut (S (S
-                                                                  (S (S (S (S
-                                                                  (S (S (S (S
-                                                                  (S (S (S (S
-                                                                  (S (S (S (S
-                                                                  (S (S (S (S
-                                                                  (S (S (S (S
-                                                                  (S (S (S (S
-                                                                  (S (S (S (S
-                                                                  (S (S (S (S
-                                                                  O))))))))))))))))))))))))))))))))))))))
-                                                                  (S (S (S (S
-                                                                  (S (S (S (S
-                                                                  (S (S (S (S
-                                                                  (S (S (S (S
-                                                                  (S (S (S (S
-                                                                  (S (S (S (S
-                                                                  (S (S (S (S
-                                                                  (S (S (S (S
-                                                                  (S (S (S (S
-                                                                  (S (S (S (S
-                                                                  O))))))))))))))))))))))))))))))))))))))))
-                                                                  (String
-                                                                  ((Ascii
-                                                                  (false,
-                                                                  true, true,
-                                                                  false,
-                                                                  false,
-                                                                  false,
-                                                                  true,
-                                                                  false)),
-                                                                  (String
-                                                                  ((Ascii
-                                                                  (true,
-                                                                  true, true,
-                                                                  true,
-                                                                  false,
-                                                                  true, true,
-                                                                  false)),
-                                                                  (String
-                                                                  ((Ascii
-                                                                  (false,
-                                                                  true,
-                                                                  false,
-                                                                  false,
-                                                                  true, true,
-                                                                  true,
-                                                                  false)),
-                                                                  (String
-                                                                  ((Ascii
-                                                                  (true,
-                                                                  false,
-                                                                  true,
-                                                                  false,
-                                                                  false,
-                                                                  true, true,
-                                                                  false)),
-                                                                  (String
-                                                                  ((Ascii
-                                                                  (true,
-                                                                  false,
-                                                                  false,
-                                                                  true,
-                                                                  false,
-                                                                  true, true,
-                                                                  false)),
-                                                                  (String
-                                                                  ((Ascii
-                                                                  (true,
-                                                                  true, true,
-                                                                  false,
-                                                                  false,
-                                                                  true, true,
-                                                                  false)),
-                                                                  (String
-                                                                  ((Ascii
-                                                                  (false,
-                                                                  true, true,
-                                                                  true,
-                                                                  false,
-                                                                  true, true,
-                                                                  false)),
-                                                                  (String
-                                                                  ((Ascii
-                                                                  (true,
-                                                                  true,
-                                                                  false,
-                                                                  false,
-                                                                  false,
-                                                                  false,
-                                                                  true,
-                                                                  false)),
-                                                                  (String
-                                                                  ((Ascii
-                                                                  (true,
-                                                                  true, true,
-                                                                  true,
-                                                                  false,
-                                                                  true, true,
-                                                                  false)),
-                                                                  (String
-                                                                  ((Ascii
-                                                                  (false,
-                                                                  true,
-                                                                  false,
-                                                                  false,
-                                                                  true, true,
-                                                                  true,
-                                                                  false)),
-                                                                  (String
-                                                                  ((Ascii
-                                                                  (false,
-                                                                  true,
-                                                                  false,
-                                                                  false,
-                                                                  true, true,
-                                                                  true,
-                                                                  false)),
-                                                                  (String
-                                                                  ((Ascii
-                                                                  (true,
-                                                                  false,
-                                                                  true,
-                                                                  false,
-                                                                  false,
-                                                                  true, true,
-                                                                  false)),
-                                                                  (String
-                                                                  ((Ascii
-                                                                  (true,
-                                                                  true,
-                                                                  false,
-                                                                  false,
-                                                                  true, true,
-                                                                  true,
-                                                                  false)),
-                                                                  (String
-                                                                  ((Ascii
-                                                                  (false,
-                                                                  false,
-                                                                  false,
-                                                                  false,
-                                                                  true, true,
-                                                                  true,
-                                                                  false)),
-                                                                  (String
-                                                                  ((Ascii
-                                                                  (true,
-                                                                  true, true,
-                                                                  true,
-                                                                  false,
-                                                                  true, true,
-                                                                  false)),
-                                                                  (String
-                                                                  ((Ascii
-                                                                  (false,
-                                                                  true, true,
-                                                                  true,
-                                                                  false,
-                                                                  true, true,
-                                                                  false)),
-                                                                  (String
-                                                                  ((Ascii
-                                                                  (false,
-                                                                  false,
-                                                                  true,
-                                                                  false,
-                                                                  false,
-                                                                  true, true,
-                                                                  false)),
-                                                                  (String
-                                                                  ((Ascii
-                                                                  (true,
-                                                                  false,
-                                                                  true,
-                                                                  false,
-                                                                  false,
-                                                                  true, true,
-                                                                  false)),
-                                                                  (String
-                                                                  ((Ascii
-                                                                  (false,
-                                                                  true, true,
-                                                                  true,
-                                                                  false,
-                                                                  true, true,
-                                                                  false)),
-                                                                  (String
-                                                                  ((Ascii
-                                                                  (false,
-                                                                  false,
-                                                                  true,
-                                                                  false,
-                                                                  true, true,
-                                                                  true,
-                                                                  false)),
-                                                                  (String
-                                                                  ((Ascii
-                                                                  (false,
-                                                                  true,
-                                                                  false,
-                                                                  false,
-                                                                  false,
-                                                                  false,
-                                                                  true,
-                                                                  false)),
-                                                                  (String
-                                                                  ((Ascii
-                                                                  (true,
-                                                                  false,
-                                                                  false,
-                                                                  false,
-                                                                  false,
-                                                                  true, true,
-                                                                  false)),
-                                                                  (String
-                                                                  ((Ascii
-                                                                  (false,
-                                                                  true, true,
-                                                                  true,
-                                                                  false,
-                                                                  true, true,
-                                                                  false)),
-                                                                  (String
-                                                                  ((Ascii
-                                                                  (true,
-                                                                  true,
-                                                                  false,
-                                                                  true,
-                                                                  false,
-                                                                  true, true,
-                                                                  false)),
-                                                                  (String
-                                                                  ((Ascii
-                                                                  (true,
-                                                                  false,
-                                                                  false,
-                                                                  true,
-                                                                  false,
-                                                                  false,
-                                                                  true,
-                                                                  false)),
-                                                                  (String
-                                                                  ((Ascii
-                                                                  (false,
-                                                                  false,
-                                                                  true,
-                                                                  false,
-                                                                  false,
-                                                                  false,
-                                                                  true,
-                                                                  false)),
-                                                                  (String
-                                                                  ((Ascii
-                                                                  (false,
-                                                                  true, true,
-                                                                  true,
-                                                                  false,
-                                                                  false,
-                                                                  true,
-                                                                  false)),
-                                                                  (String
-                                                                  ((Ascii
-                                                                  (true,
-                                                                  false,
-                                                                  true,
-                                                                  false,
-                                                                  true, true,
-                                                                  true,
-                                                                  false)),
-                                                                  (String
-                                                                  ((Ascii
-                                                                  (true,
-                                                                  false,
-                                                                  true, true,
-                                                                  false,
-                                                                  true, true,
-                                                                  false)),
-                                                                  (String
-                                                                  ((Ascii
-                                                                  (false,
-                                                                  true,
-                                                                  false,
-                                                                  false,
-                                                                  false,
-                                                                  true, true,
-                                                                  false)),
-                                                                  (String
-                                                                  ((Ascii
-                                                                  (true,
-                                                                  false,
-                                                                  true,
-                                                                  false,
-                                                                  false,
-                                                                  true, true,
-                                                                  false)),
-                                                                  (String
-                                                                  ((Ascii
-                                                                  (false,
-                                                                  true,
-                                                                  false,
-                                                                  false,
-                                                                  true, true,
-                                                                  true,
-                                                                  false)),
-                                                                  (String
-                                                                  ((Ascii
-                                                                  (true,
-                                                                  false,
-                                                                  false,
-                                                                  false,
-                                                                  true,
-                                                                  false,
-                                                                  true,
-                                                                  false)),
-                                                                  (String
-                                                                  ((Ascii
-                                                                  (true,
-                                                                  false,
-                                                                  true,
-                                                                  false,
-                                                                  true, true,
-                                                                  true,
-                                                                  false)),
-                                                                  (String
-                                                                  ((Ascii
-                                                                  (true,
-                                                                  false,
-                                                                  false,
-                                                                  false,
-                                                                  false,
-                                                                  true, true,
-                                                                  false)),
-                                                                  (String
-                                                                  ((Ascii
-                                                                  (false,
-                                                                  false,
-                                                                  true, true,
-                                                                  false,
-                                                                  true, true,
-                                                                  false)),
-                                                                  (String
-                                                                  ((Ascii
-                                                                  (true,
-                                                                  false,
-                                                                  false,
-                                                                  true,
-                                                                  false,
-                                                                  true, true,
-                                                                  false)),
-                                                                  (String
-                                                                  ((Ascii
-                                                                  (false,
-                                                                  true, true,
-                                                                  false,
-                                                                  false,
-                                                                  true, true,
-                                                                  false)),
-                                                                  (String
-                                                                  ((Ascii
-                                                                  (true,
-                                                                  false,
-                                                                  false,
-                                                                  true,
-                                                                  false,
-                                                                  true, true,
-                                                                  false)),
-                                                                  (String
-                                                                  ((Ascii
-                                                                  (true,
-                                                                  false,
-                                                                  true,
-                                                                  false,
-                                                                  false,
-                                                                  true, true,
-                                                                  false)),
-                                                                  (String
-                                                                  ((Ascii
-                                                                  (false,
-                                                                  true,
-                                                                  false,
-                                                                  false,
-                                                                  true, true,
-                                                                  true,
-                                                                  false)),
-                                                                  EmptyString))))))))))))))))))))))))))))))))))))))))))))))))))))))))))))))))))))))))))))))))))
-                                                                  []) :: (
-    (mkcut (S (S (S (S (S (S (S (S (S (S (S (S (S (S (S (S (S (S (S (S (S (S
-      (S (S (S (S (S (S (S (S (S (S (S (S (S (S (S (S (S (S
-      O)))))))))))))))))))))))))))))))))))))))) (S (S (S (S (S (S (S (S (S (S
-      (S (S (S (S (S (S (S (S (S (S (S (S (S (S (S (S (S (S (S (S (S (S (S (S
-      (S (S (S (S (S (S (S (S (S (S (S (S (S (S (S (S (S (S (S (S (S (S (S (S
-      (S (S (S (S (S (S (S (S (S (S (S (S (S (S (S (S
-      O))))))))))))))))))))))))))))))))))))))))))))))))))))))))))))))))))))))))))
-      (String ((Ascii (false, true, true, false, false, false, true, false)),
-      (String ((Ascii (true, true, true, true, false, true, true, false)),
-      (String ((Ascii (false, true, false, false, true, true, true, false)),
-      (String ((Ascii (true, false, true, false, false, true, true, false)),
-      (String ((Ascii (true, false, false, true, false, true, true, false)),
-      (String ((Ascii (true, true, true, false, false, true, true, false)),
-      (String ((Ascii (false, true, true, true, false, true, true, false)),
-      (String ((Ascii (true, true, false, false, false, false, true, false)),
-      (String ((Ascii (true, true, true, true, false, true, true, false)),
-      (String ((Ascii (false, true, false, false, true, true, true, false)),
-      (String ((Ascii (false, true, false, false, true, true, true, false)),
-      (String ((Ascii (true, false, true, false, false, true, true, false)),
-      (String ((Ascii (true, true, false, false, true, true, true, false)),
-      (String ((Ascii (false, false, false, false, true, true, true, false)),
-      (String ((Ascii (true, true, true, true, false, true, true, false)),
-      (String ((Ascii (false, true, true, true, false, true, true, false)),
-      (String ((Ascii (false, false, true, false, false, true, true, false)),
-      (String ((Ascii (true, false, true, false, false, true, true, false)),
-      (String ((Ascii (false, true, true, true, false, true, true, false)),
-      (String ((Ascii (false, false, true, false, true, true, true, false)),
-      (String ((Ascii (false, true, false, false, false, false, true,
-      false)), (String ((Ascii (true, false, false, false, false, true, true,
-      false)), (String ((Ascii (false, true, true, true, false, true, true,
-      false)), (String ((Ascii (true, true, false, true, false, true, true,
-      false)), (String ((Ascii (true, false, false, true, false, false, true,
-      false)), (String ((Ascii (false, false, true, false, false, false,
-      true, false)), (String ((Ascii (false, true, true, true, false, false,
-      true, false)), (String ((Ascii (true, false, true, false, true, true,
-      true, false)), (String ((Ascii (true, false, true, true, false, true,
-      true, false)), (String ((Ascii (false, true, false, false, false, true,
-      true, false)), (String ((Ascii (true, false, true, false, false, true,
-      true, false)), (String ((Ascii (false, true, false, false, true, true,
-      true, false)),
-      EmptyString))))))))))))))))))))))))))))))))))))))))))))))))))))))))))))))))
-      ((String ((Ascii (true, true, false, false, true, true, true, false)),
-      (String ((Ascii (false, false, true, false, true, true, true, false)),
-      (String ((Ascii (false, true, false, false, true, true, true, false)),
-      (String ((Ascii (true, false, false, true, false, true, true, false)),
-      (String ((Ascii (false, true, true, true, false, true, true, false)),
-      (String ((Ascii (true, true, true, false, false, true, true, false)),
-      (String ((Ascii (true, true, false, false, true, true, true, false)),
-      (String ((Ascii (false, true, true, true, false, true, false, false)),
-      (String ((Ascii (false, false, true, false, true, false, true, false)),
-      (String ((Ascii (false, true, false, false, true, true, true, false)),
-      (String ((Ascii (true, false, false, true, false, true, true, false)),
-      (String ((Ascii (true, false, true, true, false, true, true, false)),
-      (String ((Ascii (true, true, false, false, true, false, true, false)),
-      (String ((Ascii (false, false, false, false, true, true, true, false)),
-      (String ((Ascii (true, false, false, false, false, true, true, false)),
-      (String ((Ascii (true, true, false, false, false, true, true, false)),
-      (String ((Ascii (true, false, true, false, false, true, true, false)),
-      EmptyString)))))))))))))))))))))))))))))))))) :: [])) :: ((mkcut (S (S
-                                                                  (S (S (S (S
-                                                                  (S (S (S (S
-                                                                  (S (S (S (S
-                                                                  (S (S (S (S
-                                                                  (S (S (S (S
-                                                                  (S (S (S (S
-                                                                  (S (S (S (S
-                                                                  (S (S (S (S
-                                                                  (S (S (S (S
-                                                                  (S (S (S (S
-                                                                  (S (S (S (S
-                                                                  (S (S (S (S
-                                                                  (S (S (S (S
-                                                                  (S (S (S (S
-                                                                  (S (S (S (S
-                                                                  (S (S (S (S
-                                                                  (S (S (S (S
-                                                                  (S (S (S (S
-                                                                  O))))))))))))))))))))))))))))))))))))))))))))))))))))))))))))))))))))))))))
-                                                                  (S (S (S (S
-                                                                  (S (S (S (S
-                                                                  (S (S (S (S
-                                                                  (S (S (S (S
-                                                                  (S (S (S (S
-                                                                  (S (S (S (S
-                                                                  (S (S (S (S
-                                                                  (S (S (S (S
-                                                                  (S (S (S (S
-                                                                  (S (S (S (S
-                                                                  (S (S (S (S
-                                                                  (S (S (S (S
-                                                                  (S (S (S (S
-                                                                  (S (S (S (S
-                                                                  (S (S (S (S
-                                                                  (S (S (S (S
-                                                                  (S (S (S (S
-                                                                  (S (S (S (S
-                                                                  (S (S (S (S
-                                                                  (S
-                                                                  O)))))))))))))))))))))))))))))))))))))))))))))))))))))))))))))))))))))))))))))
-                                                                  (String
-                                                                  ((Ascii
-                                                                  (false,
-                                                                  true, true,
-                                                                  false,
-                                                                  false,
-                                                                  false,
-                                                                  true,
-                                                                  false)),
-                                                                  (String
-                                                                  ((Ascii
-                                                                  (true,
-                                                                  true, true,
-                                                                  true,
-                                                                  false,
-                                                                  true, true,
-                                                                  false)),
-                                                                  (String
-                                                                  ((Ascii
-                                                                  (false,
-                                                                  true,
-                                                                  false,
-                                                                  false,
-                                                                  true, true,
-                                                                  true,
-                                                                  false)),
-                                                                  (String
-                                                                  ((Ascii
-                                                                  (true,
-                                                                  false,
-                                                                  true,
-                                                                  false,
-                                                                  false,
-                                                                  true, true,
-                                                                  false)),
-                                                                  (String
-                                                                  ((Ascii
-                                                                  (true,
-                                                                  false,
-                                                                  false,
-                                                                  true,
-                                                                  false,
-                                                                  true, true,
-                                                                  false)),
-                                                                  (String
-                                                                  ((Ascii
-                                                                  (true,
-                                                                  true, true,
-                                                                  false,
-                                                                  false,
-                                                                  true, true,
-                                                                  false)),
-                                                                  (String
-                                                                  ((Ascii
-                                                                  (false,
-                                                                  true, true,
-                                                                  true,
-                                                                  false,
-                                                                  true, true,
-                                                                  false)),
-                                                                  (String
-                                                                  ((Ascii
-                                                                  (true,
-                                                                  true,
-                                                                  false,
-                                                                  false,
-                                                                  false,
-                                                                  false,
-                                                                  true,
-                                                                  false)),
-                                                                  (String
-                                                                  ((Ascii
-                                                                  (true,
-                                                                  true, true,
-                                                                  true,
-                                                                  false,
-                                                                  true, true,
-                                                                  false)),
-                                                                  (String
-                                                                  ((Ascii
-                                                                  (false,
-                                                                  true,
-                                                                  false,
-                                                                  false,
-                                                                  true, true,
-                                                                  true,
-                                                                  false)),
-                                                                  (String
-                                                                  ((Ascii
-                                                                  (false,
-                                                                  true,
-                                                                  false,
-                                                                  false,
-                                                                  true, true,
-                                                                  true,
-                                                                  false)),
-                                                                  (String
-                                                                  ((Ascii
-                                                                  (true,
-                                                                  false,
-                                                                  true,
-                                                                  false,
-                                                                  false,
-                                                                  true, true,
-                                                                  false)),
-                                                                  (String
-                                                                  ((Ascii
-                                                                  (true,
-                                                                  true,
-                                                                  false,
-                                                                  false,
-                                                                  true, true,
-                                                                  true,
-                                                                  false)),
-                                                                  (String
-                                                                  ((Ascii
-                                                                  (false,
-                                                                  false,
-                                                                  false,
-                                                                  false,
-                                                                  true, true,
-                                                                  true,
-                                                                  false)),
-                                                                  (String
-                                                                  ((Ascii
-                                                                  (true,
-                                                                  true, true,
-                                                                  true,
-                                                                  false,
-                                                                  true, true,
-                                                                  false)),
-                                                                  (String
-                                                                  ((Ascii
-                                                                  (false,
-                                                                  true, true,
-                                                                  true,
-                                                                  false,
-                                                                  true, true,
-                                                                  false)),
-                                                                  (String
-                                                                  ((Ascii
-                                                                  (false,
-                                                                  false,
-                                                                  true,
-                                                                  false,
-                                                                  false,
-                                                                  true, true,
-                                                                  false)),
-                                                                  (String
-                                                                  ((Ascii
-                                                                  (true,
-                                                                  false,
-                                                                  true,
-                                                                  false,
-                                                                  false,
-                                                                  true, true,
-                                                                  false)),
-                                                                  (String
-                                                                  ((Ascii
-                                                                  (false,
-                                                                  true, true,
-                                                                  true,
-                                                                  false,
-                                                                  true, true,
-                                                                  false)),
-                                                                  (String
-                                                                  ((Ascii
-                                                                  (false,
-                                                                  false,
-                                                                  true,
-                                                                  false,
-                                                                  true, true,
-                                                                  true,
-                                                                  false)),
-                                                                  (String
-                                                                  ((Ascii
-                                                                  (false,
-                                                                  true,
-                                                                  false,
-                                                                  false,
-                                                                  false,
-                                                                  false,
-                                                                  true,
-                                                                  false)),
-                                                                  (String
-                                                                  ((Ascii
-                                                                  (true,
-                                                                  false,
-                                                                  false,
-                                                                  false,
-                                                                  false,
-                                                                  true, true,
-                                                                  false)),
-                                                                  (String
-                                                                  ((Ascii
-                                                                  (false,
-                                                                  true, true,
-                                                                  true,
-                                                                  false,
-                                                                  true, true,
-                                                                  false)),
-                                                                  (String
-                                                                  ((Ascii
-                                                                  (true,
-                                                                  true,
-                                                                  false,
-                                                                  true,
-                                                                  false,
-                                                                  true, true,
-                                                                  false)),
-                                                                  (String
-                                                                  ((Ascii
-                                                                  (false,
-                                                                  true,
-                                                                  false,
-                                                                  false,
-                                                                  false,
-                                                                  false,
-                                                                  true,
-                                                                  false)),
-                                                                  (String
-                                                                  ((Ascii
-                                                                  (false,
-                                                                  true,
-                                                                  false,
-                                                                  false,
-                                                                  true, true,
-                                                                  true,
-                                                                  false)),
-                                                                  (String
-                                                                  ((Ascii
-                                                                  (true,
-                                                                  false,
-                                                                  false,
-                                                                  false,
-                                                                  false,
-                                                                  true, true,
-                                                                  false)),
-                                                                  (String
-                                                                  ((Ascii
-                                                                  (false,
-                                                                  true, true,
-                                                                  true,
-                                                                  false,
-                                                                  true, true,
-                                                                  false)),
-                                                                  (String
-                                                                  ((Ascii
-                                                                  (true,
-                                                                  true,
-                                                                  false,
-                                                                  false,
-                                                                  false,
-                                                                  true, true,
-                                                                  false)),
-                                                                  (String
-                                                                  ((Ascii
-                                                                  (false,
-                                                                  false,
-                                                                  false,
-                                                                  true,
-                                                                  false,
-                                                                  true, true,
-                                                                  false)),
-                                                                  (String
-                                                                  ((Ascii
-                                                                  (true,
-                                                                  true,
-                                                                  false,
-                                                                  false,
-                                                                  false,
-                                                                  false,
-                                                                  true,
-                                                                  false)),
-                                                                  (String
-                                                                  ((Ascii
-                                                                  (true,
-                                                                  true, true,
-                                                                  true,
-                                                                  false,
-                                                                  true, true,
-                                                                  false)),
-                                                                  (String
-                                                                  ((Ascii
-                                                                  (true,
-                                                                  false,
-                                                                  true,
-                                                                  false,
-                                                                  true, true,
-                                                                  true,
-                                                                  false)),
-                                                                  (String
-                                                                  ((Ascii
-                                                                  (false,
-                                                                  true, true,
-                                                                  true,
-                                                                  false,
-                                                                  true, true,
-                                                                  false)),
-                                                                  (String
-                                                                  ((Ascii
-                                                                  (false,
-                                                                  false,
-                                                                  true,
-                                                                  false,
-                                                                  true, true,
-                                                                  true,
-                                                                  false)),
-                                                                  (String
-                                                                  ((Ascii
-                                                                  (false,
-                                                                  true,
-                                                                  false,
-                                                                  false,
-                                                                  true, true,
-                                                                  true,
-                                                                  false)),
-                                                                  (String
-                                                                  ((Ascii
-                                                                  (true,
-                                                                  false,
-                                                                  false,
-                                                                  true, true,
-                                                                  true, true,
-                                                                  false)),
-                                                                  (String
-                                                                  ((Ascii
-                                                                  (true,
-                                                                  true,
-                                                                  false,
-                                                                  false,
-                                                                  false,
-                                                                  false,
-                                                                  true,
-                                                                  false)),
-                                                                  (String
-                                                                  ((Ascii
-                                                                  (true,
-                                                                  true, true,
-                                                                  true,
-                                                                  false,
-                                                                  true, true,
-                                                                  false)),
-                                                                  (String
-                                                                  ((Ascii
-                                                                  (false,
-                                                                  false,
-                                                                  true,
-                                                                  false,
-                                                                  false,
-                                                                  true, true,
-                                                                  false)),
-                                                                  (String
-                                                                  ((Ascii
-                                                                  (true,
-                                                                  false,
-                                                                  true,
-                                                                  false,
-                                                                  false,
-                                                                  true, true,
-                                                                  false)),
-                                                                  EmptyString))))))))))))))))))))))))))))))))))))))))))))))))))))))))))))))))))))))))))))))))))
-                                                                  ((String
-                                                                  ((Ascii
-                                                                  (true,
-                                                                  true,
-                                                                  false,
-                                                                  false,
-                                                                  true, true,
-                                                                  true,
-                                                                  false)),
-                                                                  (String
-                                                                  ((Ascii
-                                                                  (false,
-                                                                  false,
-                                                                  true,
-                                                                  false,
-                                                                  true, true,
-                                                                  true,
-                                                                  false)),
-                                                                  (String
-                                                                  ((Ascii
-                                                                  (false,
-                                                                  true,
-                                                                  false,
-                                                                  false,
-                                                                  true, true,
-                                                                  true,
-                                                                  false)),
-                                                                  (String
-                                                                  ((Ascii
-                                                                  (true,
-                                                                  false,
-                                                                  false,
-                                                                  true,
-                                                                  false,
-                                                                  true, true,
-                                                                  false)),
-                                                                  (String
-                                                                  ((Ascii
-                                                                  (false,
-                                                                  true, true,
-                                                                  true,
-                                                                  false,
-                                                                  true, true,
-                                                                  false)),
-                                                                  (String
-                                                                  ((Ascii
-                                                                  (true,
-                                                                  true, true,
-                                                                  false,
-                                                                  false,
-                                                                  true, true,
-                                                                  false)),
-                                                                  (String
-                                                                  ((Ascii
-                                                                  (true,
-                                                                  true,
-                                                                  false,
-                                                                  false,
-                                                                  true, true,
-                                                                  true,
-                                                                  false)),
-                                                                  (String
-                                                                  ((Ascii
-                                                                  (false,
-                                                                  true, true,
-                                                                  true,
-                                                                  false,
-                                                                  true,
-                                                                  false,
-                                                                  false)),
-                                                                  (String
-                                                                  ((Ascii
-                                                                  (false,
-                                                                  false,
-                                                                  true,
-                                                                  false,
-                                                                  true,
-                                                                  false,
-                                                                  true,
-                                                                  false)),
-                                                                  (String
-                                                                  ((Ascii
-                                                                  (false,
-                                                                  true,
-                                                                  false,
-                                                                  false,
-                                                                  true, true,
-                                                                  true,
-                                                                  false)),
-                                                                  (String
-                                                                  ((Ascii
-                                                                  (true,
-                                                                  false,
-                                                                  false,
-                                                                  true,
-                                                                  false,
-                                                                  true, true,
-                                                                  false)),
-                                                                  (String
-                                                                  ((Ascii
-                                                                  (true,
-                                                                  false,
-                                                                  true, true,
-                                                                  false,
-                                                                  true, true,
-                                                                  false)),
-                                                                  (String
-                                                                  ((Ascii
-                                                                  (true,
-                                                                  true,
-                                                                  false,
-                                                                  false,
-                                                                  true,
-                                                                  false,
-                                                                  true,
-                                                                  false)),
-                                                                  (String
-                                                                  ((Ascii
-                                                                  (false,
-                                                                  false,
-                                                                  false,
-                                                                  false,
-                                                                  true, true,
-                                                                  true,
-                                                                  false)),
-                                                                  (String
-                                                                  ((Ascii
-                                                                  (true,
-                                                                  false,
-                                                                  false,
-                                                                  false,
-                                                                  false,
-                                                                  true, true,
-                                                                  false)),
-                                                                  (String
-                                                                  ((Ascii
-                                                                  (true,
-                                                                  true,
-                                                                  false,
-                                                                  false,
-                                                                  false,
-                                                                  true, true,
-                                                                  false)),
-                                                                  (String
-                                                                  ((Ascii
-                                                                  (true,
-                                                                  false,
-                                                                  true,
-                                                                  false,
-                                                                  false,
-                                                                  true, true,
-                                                                  false)),
-                                                                  EmptyString)))))))))))))))))))))))))))))))))) :: [])) :: (
-    (mkcut (S (S (S (S (S (S (S (S (S (S (S (S (S (S (S (S (S (S (S (S (S (S
-      (S (S (S (S (S (S (S (S (S (S (S (S (S (S (S (S (S (S (S (S (S (S (S (S
-      (S (S (S (S (S (S (S (S (S (S (S (S (S (S (S (S (S (S (S (S (S (S (S (S
-      (S (S (S (S (S (S (S
-      O)))))))))))))))))))))))))))))))))))))))))))))))))))))))))))))))))))))))))))))
-      (S (S (S (S (S (S (S (S (S (S (S (S (S (S (S (S (S (S (S (S (S (S (S (S
-      (S (S (S (S (S (S (S (S (S (S (S (S (S (S (S (S (S (S (S (S (S (S (S (S
-      (S (S (S (S (S (S (S (S (S (S (S (S (S (S (S (S (S (S (S (S (S (S (S (S
-      (S (S (S (S (S (S (S (S (S (S (S
-      O)))))))))))))))))))))))))))))))))))))))))))))))))))))))))))))))))))))))))))))))))))
-      EmptyString []) :: ((mkcut (S (S (S (S (S (S (S (S (S (S (S (S (S (S (S
-                            (S (S (S (S (S (S (S (S (S (S (S (S (S (S (S (S
-                            (S (S (S (S (S (S (S (S (S (S (S (S (S (S (S (S
-                            (S (S (S (S (S (S (S (S (S (S (S (S (S (S (S (S
-                            (S (S (S (S (S (S (S (S (S (S (S (S (S (S (S (S
-                            (S (S (S (S
-                            O)))))))))))))))))))))))))))))))))))))))))))))))))))))))))))))))))))))))))))))))))))
-                            (S (S (S (S (S (S (S (S (S (S (S (S (S (S (S (S
-                            (S (S (S (S (S (S (S (S (S (S (S (S (S (S (S (S
-                            (S (S (S (S (S (S (S (S (S (S (S (S (S (S (S (S
-                            (S (S (S (S (S (S (S (S (S (S (S (S (S (S (S (S
-                            (S (S (S (S (S (S (S (S (S (S (S (S (S (S (S (S
-                            (S (S (S (S (S (S (S
-                            O)))))))))))))))))))))))))))))))))))))))))))))))))))))))))))))))))))))))))))))))))))))))
-                            (String ((Ascii (true, true, false, false, true,
-                            false, true, false)), (String ((Ascii (true,
-                            false, true, false, false, true, true, false)),
-                            (String ((Ascii (true, false, false, false, true,
-                            true, true, false)), (String ((Ascii (true,
-                            false, true, false, true, true, true, false)),
-                            (String ((Ascii (true, false, true, false, false,
-                            true, true, false)), (String ((Ascii (false,
-                            true, true, true, false, true, true, false)),
-                            (String ((Ascii (true, true, false, false, false,
-                            true, true, false)), (String ((Ascii (true,
-                            false, true, false, false, true, true, false)),
-                            (String ((Ascii (false, true, true, true, false,
-                            false, true, false)), (String ((Ascii (true,
-                            false, true, false, true, true, true, false)),
-                            (String ((Ascii (true, false, true, true, false,
-                            true, true, false)), (String ((Ascii (false,
-                            true, false, false, false, true, true, false)),
-                            (String ((Ascii (true, false, true, false, false,
-                            true, true, false)), (String ((Ascii (false,
-                            true, false, false, true, true, true, false)),
-                            EmptyString)))))))))))))))))))))))))))) ((String
-                            ((Ascii (false, false, false, false, true, true,
-                            true, false)), (String ((Ascii (true, false,
-                            false, false, false, true, true, false)), (String
-                            ((Ascii (false, true, false, false, true, true,
-                            true, false)), (String ((Ascii (true, true,
-                            false, false, true, true, true, false)), (String
-                            ((Ascii (true, false, true, false, false, true,
-                            true, false)), (String ((Ascii (false, true,
-                            true, true, false, false, true, false)), (String
-                            ((Ascii (true, false, true, false, true, true,
-                            true, false)), (String ((Ascii (true, false,
-                            true, true, false, true, true, false)), (String
-                            ((Ascii (false, true, true, false, false, false,
-                            true, false)), (String ((Ascii (true, false,
-                            false, true, false, true, true, false)), (String
-                            ((Ascii (true, false, true, false, false, true,
-                            true, false)), (String ((Ascii (false, false,
-                            true, true, false, true, true, false)), (String
-                            ((Ascii (false, false, true, false, false, true,
-                            true, false)),
-                            EmptyString)))))))))))))))))))))))))) :: [])) :: (
-    (mkcut (S (S (S (S (S (S (S (S (S (S (S (S (S (S (S (S (S (S (S (S (S (S
-      (S (S (S (S (S (S (S (S (S (S (S (S (S (S (S (S (S (S (S (S (S (S (S (S
-      (S (S (S (S (S (S (S (S (S (S (S (S (S (S (S (S (S (S (S (S (S (S (S (S
-      (S (S (S (S (S (S (S (S (S (S (S (S (S (S (S (S (S
-      O)))))))))))))))))))))))))))))))))))))))))))))))))))))))))))))))))))))))))))))))))))))))
-      (S (S (S (S (S (S (S (S (S (S (S (S (S (S (S (S (S (S (S (S (S (S (S (S
-      (S (S (S (S (S (S (S (S (S (S (S (S (S (S (S (S (S (S (S (S (S (S (S (S
-      (S (S (S (S (S (S (S (S (S (S (S (S (S (S (S (S (S (S (S (S (S (S (S (S
-      (S (S (S (S (S (S (S (S (S (S (S (S (S (S (S (S (S (S (S (S (S (S
-      O))))))))))))))))))))))))))))))))))))))))))))))))))))))))))))))))))))))))))))))))))))))))))))))
-      (String ((Ascii (true, false, true, false, false, false, true, false)),
-      (String ((Ascii (false, true, true, true, false, true, true, false)),
-      (String ((Ascii (false, false, true, false, true, true, true, false)),
-      (String ((Ascii (false, true, false, false, true, true, true, false)),
-      (String ((Ascii (true, false, false, true, true, true, true, false)),
-      (String ((Ascii (false, false, true, false, false, false, true,
-      false)), (String ((Ascii (true, false, true, false, false, true, true,
-      false)), (String ((Ascii (false, false, true, false, true, true, true,
-      false)), (String ((Ascii (true, false, false, false, false, true, true,
-      false)), (String ((Ascii (true, false, false, true, false, true, true,
-      false)), (String ((Ascii (false, false, true, true, false, true, true,
-      false)), (String ((Ascii (true, true, false, false, true, false, true,
-      false)), (String ((Ascii (true, false, true, false, false, true, true,
-      false)), (String ((Ascii (true, false, false, false, true, true, true,
-      false)), (String ((Ascii (true, false, true, false, true, true, true,
-      false)), (String ((Ascii (true, false, true, false, false, true, true,
-      false)), (String ((Ascii (false, true, true, true, false, true, true,
-      false)), (String ((Ascii (true, true, false, false, false, true, true,
-      false)), (String ((Ascii (true, false, true, false, false, true, true,
-      false)), (String ((Ascii (false, true, true, true, false, false, true,
-      false)), (String ((Ascii (true, false, true, false, true, true, true,
-      false)), (String ((Ascii (true, false, true, true, false, true, true,
-      false)), (String ((Ascii (false, true, false, false, false, true, true,
-      false)), (String ((Ascii (true, false, true, false, false, true, true,
-      false)), (String ((Ascii (false, true, false, false, true, true, true,
-      false)), EmptyString))))))))))))))))))))))))))))))))))))))))))))))))))
-      ((String ((Ascii (false, false, false, false, true, true, true,
-      false)), (String ((Ascii (true, false, false, false, false, true, true,
-      false)), (String ((Ascii (false, true, false, false, true, true, true,
-      false)), (String ((Ascii (true, true, false, false, true, true, true,
-      false)), (String ((Ascii (true, false, true, false, false, true, true,
-      false)), (String ((Ascii (false, true, true, true, false, false, true,
-      false)), (String ((Ascii (true, false, true, false, true, true, true,
-      false)), (String ((Ascii (true, false, true, true, false, true, true,
-      false)), (String ((Ascii (false, true, true, false, false, false, true,
-      false)), (String ((Ascii (true, false, false, true, false, true, true,
-      false)), (String ((Ascii (true, false, true, false, false, true, true,
-      false)), (String ((Ascii (false, false, true, true, false, true, true,
-      false)), (String ((Ascii (false, false, true, false, false, true, true,
-      false)), EmptyString)))))))))))))))))))))))))) :: [])) :: []))))))))) }
-
-(** val l_Addenda98 : layout **)
-
-let l_Addenda98 =
-  { l_name = (String ((Ascii (true, false, false, false, false, false, true,
-    false)), (String ((Ascii (false, false, true, false, false, true, true,
-    false)), (String ((Ascii (false, false, true, false, false, true, true,
-    false)), (String ((Ascii (true, false, true, false, false, true, true,
-    false)), (String ((Ascii (false, true, true, true, false, true, true,
-    false)), (String ((Ascii (false, false, true, false, false, true, true,
-    false)), (String ((Ascii (true, false, false, false, false, true, true,
-    false)), (String ((Ascii (true, false, false, true, true, true, false,
-    false)), (String ((Ascii (false, false, false, true, true, true, false,
-    false)), EmptyString)))))))))))))))))); l_ix = IRune; l_segs = ((SLit
-    ((Npos (XI (XI (XI (XO (XI XH)))))) :: [])) :: ((SRaw (String ((Ascii
-    (false, false, true, false, true, false, true, false)), (String ((Ascii
-    (true, false, false, true, true, true, true, false)), (String ((Ascii
-    (false, false, false, false, true, true, true, false)), (String ((Ascii
-    (true, false, true, false, false, true, true, false)), (String ((Ascii
-    (true, true, false, false, false, false, true, false)), (String ((Ascii
-    (true, true, true, true, false, true, true, false)), (String ((Ascii
-    (false, false, true, false, false, true, true, false)), (String ((Ascii
-    (true, false, true, false, false, true, true, false)),
-    EmptyString))))))))))))))))) :: ((SRaw (String ((Ascii (true, true,
-    false, false, false, false, true, false)), (String ((Ascii (false, false,
-    false, true, false, true, true, false)), (String ((Ascii (true, false,
-    false, false, false, true, true, false)), (String ((Ascii (false, true,
-    true, true, false, true, true, false)), (String ((Ascii (true, true,
-    true, false, false, true, true, false)), (String ((Ascii (true, false,
-    true, false, false, true, true, false)), (String ((Ascii (true, true,
-    false, false, false, false, true, false)), (String ((Ascii (true, true,
-    true, true, false, true, true, false)), (String ((Ascii (false, false,
-    true, false, false, true, true, false)), (String ((Ascii (true, false,
-    true, false, false, true, true, false)),
-    EmptyString))))))))))))))))))))) :: ((SStr ((String ((Ascii (true, true,
-    true, true, false, false, true, false)), (String ((Ascii (false, true,
-    false, false, true, true, true, false)), (String ((Ascii (true, false,
-    false, true, false, true, true, false)), (String ((Ascii (true, true,
-    true, false, false, true, true, false)), (String ((Ascii (true, false,
-    false, true, false, true, true, false)), (String ((Ascii (false, true,
-    true, true, false, true, true, false)), (String ((Ascii (true, false,
-    false, false, false, true, true, false)), (String ((Ascii (false, false,
-    true, true, false, true, true, false)), (String ((Ascii (false, false,
-    true, false, true, false, true, false)), (String ((Ascii (false, true,
-    false, false, true, true, true, false)), (String ((Ascii (true, false,
-    false, false, false, true, true, false)), (String ((Ascii (true, true,
-    false, false, false, true, true, false)), (String ((Ascii (true, false,
-    true, false, false, true, true, false)),
-    EmptyString)))))))))))))))))))))))))), (S (S (S (S (S (S (S (S (S (S (S
-    (S (S (S (S O))))))))))))))))) :: ((SLit ((Npos (XO (XO (XO (XO (XO
-    XH)))))) :: ((Npos (XO (XO (XO (XO (XO XH)))))) :: ((Npos (XO (XO (XO (XO
-    (XO XH)))))) :: ((Npos (XO (XO (XO (XO (XO XH)))))) :: ((Npos (XO (XO (XO
-    (XO (XO XH)))))) :: ((Npos (XO (XO (XO (XO (XO
-    XH)))))) :: []))))))) :: ((SStr ((String ((Ascii (true, true, true, true,
-    false, false, true, false)), (String ((Ascii (false, true, false, false,
-    true, true, true, false)), (String ((Ascii (true, false, false, true,
-    false, true, true, false)), (String ((Ascii (true, true, true, false,
-    false, true, true, false)), (String ((Ascii (true, false, false, true,
-    false, true, true, false)), (String ((Ascii (false, true, true, true,
-    false, true, true, false)), (String ((Ascii (true, false, false, false,
-    false, true, true, false)), (String ((Ascii (false, false, true, true,
-    false, true, true, false)), (String ((Ascii (false, false, true, false,
-    false, false, true, false)), (String ((Ascii (false, true, true, false,
-    false, false, true, false)), (String ((Ascii (true, false, false, true,
-    false, false, true, false)), EmptyString)))))))))))))))))))))), (S (S (S
-    (S (S (S (S (S O)))))))))) :: ((SCustom ((String ((Ascii (true, false,
-    false, false, false, false, true, false)), (String ((Ascii (false, false,
-    true, false, false, true, true, false)), (String ((Ascii (false, false,
-    true, false, false, true, true, false)), (String ((Ascii (true, false,
-    true, false, false, true, true, false)), (String ((Ascii (false, true,
-    true, true, false, true, true, false)), (String ((Ascii (false, false,
-    true, false, false, true, true, false)), (String ((Ascii (true, false,
-    false, false, false, true, true, false)), (String ((Ascii (true, false,
-    false, true, true, true, false, false)), (String ((Ascii (false, false,
-    false, true, true, true, false, false)), (String ((Ascii (false, true,
-    true, true, false, true, false, false)), (String ((Ascii (true, true,
-    false, false, false, false, true, false)), (String ((Ascii (true, true,
-    true, true, false, true, true, false)), (String ((Ascii (false, true,
-    false, false, true, true, true, false)), (String ((Ascii (false, true,
-    false, false, true, true, true, false)), (String ((Ascii (true, false,
-    true, false, false, true, true, false)), (String ((Ascii (true, true,
-    false, false, false, true, true, false)), (String ((Ascii (false, false,
-    true, false, true, true, true, false)), (String ((Ascii (true, false,
-    true, false, false, true, true, false)), (String ((Ascii (false, false,
-    true, false, false, true, true, false)), (String ((Ascii (false, false,
-    true, false, false, false, true, false)), (String ((Ascii (true, false,
-    false, false, false, true, true, false)), (String ((Ascii (false, false,
-    true, false, true, true, true, false)), (String ((Ascii (true, false,
-    false, false, false, true, true, false)), (String ((Ascii (false, true,
-    true, false, false, false, true, false)), (String ((Ascii (true, false,
-    false, true, false, true, true, false)), (String ((Ascii (true, false,
-    true, false, false, true, true, false)), (String ((Ascii (false, false,
-    true, true, false, true, true, false)), (String ((Ascii (false, false,
-    true, false, false, true, true, false)),
-    EmptyString)))))))))))))))))))))))))))))))))))))))))))))))))))))))),
-    (String ((Ascii (true, true, true, false, true, true, false, false)),
-    (String ((Ascii (false, true, false, false, false, true, true, false)),
-    (String ((Ascii (false, true, true, false, false, true, true, false)),
-    (String ((Ascii (true, false, false, true, true, true, false, false)),
-    (String ((Ascii (false, true, true, false, false, true, true, false)),
-    (String ((Ascii (true, true, false, false, false, true, true, false)),
-    (String ((Ascii (false, true, false, false, false, true, true, false)),
-    (String ((Ascii (false, true, false, false, true, true, false, false)),
-    (String ((Ascii (false, true, false, false, true, true, false, false)),
-    (String ((Ascii (true, false, true, false, true, true, false, false)),
-    (String ((Ascii (false, true, true, false, true, true, false, false)),
-    (String ((Ascii (false, false, true, false, true, true, false, false)),
-    EmptyString)))))))))))))))))))))))))) :: ((SLit ((Npos (XO (XO (XO (XO
-    (XO XH)))))) :: ((Npos (XO (XO (XO (XO (XO XH)))))) :: ((Npos (XO (XO (XO
-    (XO (XO XH)))))) :: ((Npos (XO (XO (XO (XO (XO XH)))))) :: ((Npos (XO (XO
-    (XO (XO (XO XH)))))) :: ((Npos (XO (XO (XO (XO (XO XH)))))) :: ((Npos (XO
-    (XO (XO (XO (XO XH)))))) :: ((Npos (XO (XO (XO (XO (XO XH)))))) :: ((Npos
-    (XO (XO (XO (XO (XO XH)))))) :: ((Npos (XO (XO (XO (XO (XO
-    XH)))))) :: ((Npos (XO (XO (XO (XO (XO XH)))))) :: ((Npos (XO (XO (XO (XO
-    (XO XH)))))) :: ((Npos (XO (XO (XO (XO (XO XH)))))) :: ((Npos (XO (XO (XO
-    (XO (XO XH)))))) :: ((Npos (XO (XO (XO (XO (XO
-    XH)))))) :: [])))))))))))))))) :: ((SStr ((String ((Ascii (false, false,
-    true, false, true, false, true, false)), (String ((Ascii (false, true,
-    false, false, true, true, true, false)), (String ((Ascii (true, false,
-    false, false, false, true, true, false)), (String ((Ascii (true, true,
-    false, false, false, true, true, false)), (String ((Ascii (true, false,
-    true, false, false, true, true, false)), (String ((Ascii (false, true,
-    true, true, false, false, true, false)), (String ((Ascii (true, false,
-    true, false, true, true, true, false)), (String ((Ascii (true, false,
-    true, true, false, true, true, false)), (String ((Ascii (false, true,
-    false, false, false, true, true, false)), (String ((Ascii (true, false,
-    true, false, false, true, true, false)), (String ((Ascii (false, true,
-    false, false, true, true, true, false)),
-    EmptyString)))))))))))))))))))))), (S (S (S (S (S (S (S (S (S (S (S (S (S
-    (S (S O))))))))))))))))) :: []))))))))); l_cuts =
-    ((mkcut O (S O) EmptyString []) :: ((mkcut (S O) (S (S (S O))) (String
-                                          ((Ascii (false, false, true, false,
-                                          true, false, true, false)), (String
-                                          ((Ascii (true, false, false, true,
-                                          true, true, true, false)), (String
-                                          ((Ascii (false, false, false,
-                                          false, true, true, true, false)),
-                                          (String ((Ascii (true, false, true,
-                                          false, false, true, true, false)),
-                                          (String ((Ascii (true, true, false,
-                                          false, false, false, true, false)),
-                                          (String ((Ascii (true, true, true,
-                                          true, false, true, true, false)),
-                                          (String ((Ascii (false, false,
-                                          true, false, false, true, true,
-                                          false)), (String ((Ascii (true,
-                                          false, true, false, false, true,
-                                          true, false)),
-                                          EmptyString)))))))))))))))) []) :: (
-    (mkcut (S (S (S O))) (S (S (S (S (S (S O)))))) (String ((Ascii (true,
-      true, false, false, false, false, true, false)), (String ((Ascii
-      (false, false, false, true, false, true, true, false)), (String ((Ascii
-      (true, false, false, false, false, true, true, false)), (String ((Ascii
-      (false, true, true, true, false, true, true, false)), (String ((Ascii
-      (true, true, true, false, false, true, true, false)), (String ((Ascii
-      (true, false, true, false, false, true, true, false)), (String ((Ascii
-      (true, true, false, false, false, false, true, false)), (String ((Ascii
-      (true, true, true, true, false, true, true, false)), (String ((Ascii
-      (false, false, true, false, false, true, true, false)), (String ((Ascii
-      (true, false, true, false, false, true, true, false)),
-      EmptyString)))))))))))))))))))) []) :: ((mkcut (S (S (S (S (S (S
-                                                O)))))) (S (S (S (S (S (S (S
-                                                (S (S (S (S (S (S (S (S (S (S
-                                                (S (S (S (S
-                                                O)))))))))))))))))))))
-                                                (String ((Ascii (true, true,
-                                                true, true, false, false,
-                                                true, false)), (String
-                                                ((Ascii (false, true, false,
-                                                false, true, true, true,
-                                                false)), (String ((Ascii
-                                                (true, false, false, true,
-                                                false, true, true, false)),
-                                                (String ((Ascii (true, true,
-                                                true, false, false, true,
-                                                true, false)), (String
-                                                ((Ascii (true, false, false,
-                                                true, false, true, true,
-                                                false)), (String ((Ascii
-                                                (false, true, true, true,
-                                                false, true, true, false)),
-                                                (String ((Ascii (true, false,
-                                                false, false, false, true,
-                                                true, false)), (String
-                                                ((Ascii (false, false, true,
-                                                true, false, true, true,
-                                                false)), (String ((Ascii
-                                                (false, false, true, false,
-                                                true, false, true, false)),
-                                                (String ((Ascii (false, true,
-                                                false, false, true, true,
-                                                true, false)), (String
-                                                ((Ascii (true, false, false,
-                                                false, false, true, true,
-                                                false)), (String ((Ascii
-                                                (true, true, false, false,
-                                                false, true, true, false)),
-                                                (String ((Ascii (true, false,
-                                                true, false, false, true,
-                                                true, false)),
-                                                EmptyString))))))))))))))))))))))))))
-                                                ((String ((Ascii (true, true,
-                                                false, false, true, true,
-                                                true, false)), (String
-                                                ((Ascii (false, false, true,
-                                                false, true, true, true,
-                                                false)), (String ((Ascii
-                                                (false, true, false, false,
-                                                true, true, true, false)),
-                                                (String ((Ascii (true, false,
-                                                false, true, false, true,
-                                                true, false)), (String
-                                                ((Ascii (false, true, true,
-                                                true, false, true, true,
-                                                false)), (String ((Ascii
-                                                (true, true, true, false,
-                                                false, true, true, false)),
-                                                (String ((Ascii (true, true,
-                                                false, false, true, true,
-                                                true, false)), (String
-                                                ((Ascii (false, true, true,
-                                                true, false, true, false,
-                                                false)), (String ((Ascii
-                                                (false, false, true, false,
-                                                true, false, true, false)),
-                                                (String ((Ascii (false, true,
-                                                false, false, true, true,
-                                                true, false)), (String
-                                                ((Ascii (true, false, false,
-                                                true, false, true, true,
-                                                false)), (String ((Ascii
-                                                (true, false, true, true,
-                                                false, true, true, false)),
-                                                (String ((Ascii (true, true,
-                                                false, false, true, false,
-                                                true, false)), (String
-                                                ((Ascii (false, false, false,
-                                                false, true, true, true,
-                                                false)), (String ((Ascii
-                                                (true, false, false, false,
-                                                false, true, true, false)),
-                                                (String ((Ascii (true, true,
-                                                false, false, false, true,
-                                                true, false)), (String
-                                                ((Ascii (true, false, true,
-                                                false, false, true, true,
-                                                false)),
-                                                EmptyString)))))))))))))))))))))))))))))))))) :: [])) :: (
-    (mkcut (S (S (S (S (S (S (S (S (S (S (S (S (S (S (S (S (S (S (S (S (S
-      O))))))))))))))))))))) (S (S (S (S (S (S (S (S (S (S (S (S (S (S (S (S
-      (S (S (S (S (S (S (S (S (S (S (S O)))))))))))))))))))))))))))
-      EmptyString []) :: ((mkcut (S (S (S (S (S (S (S (S (S (S (S (S (S (S (S
-                            (S (S (S (S (S (S (S (S (S (S (S (S
-                            O))))))))))))))))))))))))))) (S (S (S (S (S (S (S
-                            (S (S (S (S (S (S (S (S (S (S (S (S (S (S (S (S
-                            (S (S (S (S (S (S (S (S (S (S (S (S
-                            O))))))))))))))))))))))))))))))))))) (String
-                            ((Ascii (true, true, true, true, false, false,
-                            true, false)), (String ((Ascii (false, true,
-                            false, false, true, true, true, false)), (String
-                            ((Ascii (true, false, false, true, false, true,
-                            true, false)), (String ((Ascii (true, true, true,
-                            false, false, true, true, false)), (String
-                            ((Ascii (true, false, false, true, false, true,
-                            true, false)), (String ((Ascii (false, true,
-                            true, true, false, true, true, false)), (String
-                            ((Ascii (true, false, false, false, false, true,
-                            true, false)), (String ((Ascii (false, false,
-                            true, true, false, true, true, false)), (String
-                            ((Ascii (false, false, true, false, false, false,
-                            true, false)), (String ((Ascii (false, true,
-                            true, false, false, false, true, false)), (String
-                            ((Ascii (true, false, false, true, false, false,
-                            true, false)), EmptyString))))))))))))))))))))))
-                            ((String ((Ascii (false, false, false, false,
-                            true, true, true, false)), (String ((Ascii (true,
-                            false, false, false, false, true, true, false)),
-                            (String ((Ascii (false, true, false, false, true,
-                            true, true, false)), (String ((Ascii (true, true,
-                            false, false, true, true, true, false)), (String
-                            ((Ascii (true, false, true, false, false, true,
-                            true, false)), (String ((Ascii (true, true,
-                            false, false, true, false, true, false)), (String
-                            ((Ascii (false, false, true, false, true, true,
-                            true, false)), (String ((Ascii (false, true,
-                            false, false, true, true, true, false)), (String
-                            ((Ascii (true, false, false, true, false, true,
-                            true, false)), (String ((Ascii (false, true,
-                            true, true, false, true, true, false)), (String
-                            ((Ascii (true, true, true, false, false, true,
-                            true, false)), (String ((Ascii (false, true,
-                            true, false, false, false, true, false)), (String
-                            ((Ascii (true, false, false, true, false, true,
-                            true, false)), (String ((Ascii (true, false,
-                            true, false, false, true, true, false)), (String
-                            ((Ascii (false, false, true, true, false, true,
-                            true, false)), (String ((Ascii (false, false,
-                            true, false, false, true, true, false)),
-                            EmptyString)))))))))))))))))))))))))))))))) :: [])) :: (
-    (mkcut (S (S (S (S (S (S (S (S (S (S (S (S (S (S (S (S (S (S (S (S (S (S
-      (S (S (S (S (S (S (S (S (S (S (S (S (S
-      O))))))))))))))))))))))))))))))))))) (S (S (S (S (S (S (S (S (S (S (S
-      (S (S (S (S (S (S (S (S (S (S (S (S (S (S (S (S (S (S (S (S (S (S (S (S
-      (S (S (S (S (S (S (S (S (S (S (S (S (S (S (S (S (S (S (S (S (S (S (S (S
-      (S (S (S (S (S
-      O))))))))))))))))))))))))))))))))))))))))))))))))))))))))))))))))
-      (String ((Ascii (true, true, false, false, false, false, true, false)),
-      (String ((Ascii (true, true, true, true, false, true, true, false)),
-      (String ((Ascii (false, true, false, false, true, true, true, false)),
-      (String ((Ascii (false, true, false, false, true, true, true, false)),
-      (String ((Ascii (true, false, true, false, false, true, true, false)),
-      (String ((Ascii (true, true, false, false, false, true, true, false)),
-      (String ((Ascii (false, false, true, false, true, true, true, false)),
-      (String ((Ascii (true, false, true, false, false, true, true, false)),
-      (String ((Ascii (false, false, true, false, false, true, true, false)),
-      (String ((Ascii (false, false, true, false, false, false, true,
-      false)), (String ((Ascii (true, false, false, false, false, true, true,
-      false)), (String ((Ascii (false, false, true, false, true, true, true,
-      false)), (String ((Ascii (true, false, false, false, false, true, true,
-      false)), EmptyString)))))))))))))))))))))))))) ((String ((Ascii (true,
-      true, false, false, true, true, true, false)), (String ((Ascii (false,
-      false, true, false, true, true, true, false)), (String ((Ascii (false,
-      true, false, false, true, true, true, false)), (String ((Ascii (true,
-      false, false, true, false, true, true, false)), (String ((Ascii (false,
-      true, true, true, false, true, true, false)), (String ((Ascii (true,
-      true, true, false, false, true, true, false)), (String ((Ascii (true,
-      true, false, false, true, true, true, false)), (String ((Ascii (false,
-      true, true, true, false, true, false, false)), (String ((Ascii (false,
-      false, true, false, true, false, true, false)), (String ((Ascii (false,
-      true, false, false, true, true, true, false)), (String ((Ascii (true,
-      false, false, true, false, true, true, false)), (String ((Ascii (true,
-      false, true, true, false, true, true, false)), (String ((Ascii (true,
-      true, false, false, true, false, true, false)), (String ((Ascii (false,
-      false, false, false, true, true, true, false)), (String ((Ascii (true,
-      false, false, false, false, true, true, false)), (String ((Ascii (true,
-      true, false, false, false, true, true, false)), (String ((Ascii (true,
-      false, true, false, false, true, true, false)),
-      EmptyString)))))))))))))))))))))))))))))))))) :: [])) :: ((mkcut (S (S
-                                                                  (S (S (S (S
-                                                                  (S (S (S (S
-                                                                  (S (S (S (S
-                                                                  (S (S (S (S
-                                                                  (S (S (S (S
-                                                                  (S (S (S (S
-                                                                  (S (S (S (S
-                                                                  (S (S (S (S
-                                                                  (S (S (S (S
-                                                                  (S (S (S (S
-                                                                  (S (S (S (S
-                                                                  (S (S (S (S
-                                                                  (S (S (S (S
-                                                                  (S (S (S (S
-                                                                  (S (S (S (S
-                                                                  (S (S
-                                                                  O))))))))))))))))))))))))))))))))))))))))))))))))))))))))))))))))
-                                                                  (S (S (S (S
-                                                                  (S (S (S (S
-                                                                  (S (S (S (S
-                                                                  (S (S (S (S
-                                                                  (S (S (S (S
-                                                                  (S (S (S (S
-                                                                  (S (S (S (S
-                                                                  (S (S (S (S
-                                                                  (S (S (S (S
-                                                                  (S (S (S (S
-                                                                  (S (S (S (S
-                                                                  (S (S (S (S
-                                                                  (S (S (S (S
-                                                                  (S (S (S (S
-                                                                  (S (S (S (S
-                                                                  (S (S (S (S
-                                                                  (S (S (S (S
-                                                                  (S (S
-                                                                  O))))))))))))))))))))))))))))))))))))))))))))))))))))))))))))))))))))))
-                                                                  (String
-                                                                  ((Ascii
-                                                                  (true,
-                                                                  false,
-                                                                  false,
-                                                                  true,
-                                                                  false,
-                                                                  true, true,
-                                                                  false)),
-                                                                  (String
-                                                                  ((Ascii
-                                                                  (true,
-                                                                  false,
-                                                                  false,
-                                                                  false,
-                                                                  false,
-                                                                  true, true,
-                                                                  false)),
-                                                                  (String
-                                                                  ((Ascii
-                                                                  (false,
-                                                                  false,
-                                                                  true,
-                                                                  false,
-                                                                  true, true,
-                                                                  true,
-                                                                  false)),
-                                                                  (String
-                                                                  ((Ascii
-                                                                  (true,
-                                                                  true,
-                                                                  false,
-                                                                  false,
-                                                                  false,
-                                                                  false,
-                                                                  true,
-                                                                  false)),
-                                                                  (String
-                                                                  ((Ascii
-                                                                  (true,
-                                                                  true, true,
-                                                                  true,
-                                                                  false,
-                                                                  true, true,
-                                                                  false)),
-                                                                  (String
-                                                                  ((Ascii
-                                                                  (false,
-                                                                  true,
-                                                                  false,
-                                                                  false,
-                                                                  true, true,
-                                                                  true,
-                                                                  false)),
-                                                                  (String
-                                                                  ((Ascii
-                                                                  (false,
-                                                                  true,
-                                                                  false,
-                                                                  false,
-                                                                  true, true,
-                                                                  true,
-                                                                  false)),
-                                                                  (String
-                                                                  ((Ascii
-                                                                  (true,
-                                                                  false,
-                                                                  true,
-                                                                  false,
-                                                                  false,
-                                                                  true, true,
-                                                                  false)),
-                                                                  (String
-                                                                  ((Ascii
-                                                                  (true,
-                                                                  true,
-                                                                  false,
-                                                                  false,
-                                                                  false,
-                                                                  true, true,
-                                                                  false)),
-                                                                  (String
-                                                                  ((Ascii
-                                                                  (false,
-                                                                  false,
-                                                                  true,
-                                                                  false,
-                                                                  true, true,
-                                                                  true,
-                                                                  false)),
-                                                                  (String
-                                                                  ((Ascii
-                                                                  (true,
-                                                                  false,
-                                                                  true,
-                                                                  false,
-                                                                  false,
-                                                                  true, true,
-                                                                  false)),
-                                                                  (String
-                                                                  ((Ascii
-                                                                  (false,
-                                                                  false,
-                                                                  true,
-                                                                  false,
-                                                                  false,
-                                                                  true, true,
-                                                                  false)),
-                                                                  (String
-                                                                  ((Ascii
-                                                                  (false,
-                                                                  false,
-                                                                  true,
-                                                                  false,
-                                                                  false,
-                                                                  false,
-                                                                  true,
-                                                                  false)),
-                                                                  (String
-                                                                  ((Ascii
-                                                                  (true,
-                                                                  false,
-                                                                  false,
-                                                                  false,
-                                                                  false,
-                                                                  true, true,
-                                                                  false)),
-                                                                  (String
-                                                                  ((Ascii
-                                                                  (false,
-                                                                  false,
-                                                                  true,
-                                                                  false,
-                                                                  true, true,
-                                                                  true,
-                                                                  false)),
-                                                                  (String
-                                                                  ((Ascii
-                                                                  (true,
-                                                                  false,
-                                                                  false,
-                                                                  false,
-                                                                  false,
-                                                                  true, true,
-                                                                  false)),
-                                                                  EmptyString))))))))))))))))))))))))))))))))
-                                                                  ((String
-                                                                  ((Ascii
-                                                                  (true,
-                                                                  true,
-                                                                  false,
-                                                                  false,
-                                                                  true, true,
-                                                                  true,
-                                                                  false)),
-                                                                  (String
-                                                                  ((Ascii
-                                                                  (false,
-                                                                  false,
-                                                                  true,
-                                                                  false,
-                                                                  true, true,
-                                                                  true,
-                                                                  false)),
-                                                                  (String
-                                                                  ((Ascii
-                                                                  (false,
-                                                                  true,
-                                                                  false,
-                                                                  false,
-                                                                  true, true,
-                                                                  true,
-                                                                  false)),
-                                                                  (String
-                                                                  ((Ascii
-                                                                  (true,
-                                                                  false,
-                                                                  false,
-                                                                  true,
-                                                                  false,
-                                                                  true, true,
-                                                                  false)),
-                                                                  (String
-                                                                  ((Ascii
-                                                                  (false,
-                                                                  true, true,
-                                                                  true,
-                                                                  false,
-                                                                  true, true,
-                                                                  false)),
-                                                                  (String
-                                                                  ((Ascii
-                                                                  (true,
-                                                                  true, true,
-                                                                  false,
-                                                                  false,
-                                                                  true, true,
-                                                                  false)),
-                                                                  (String
-                                                                  ((Ascii
-                                                                  (true,
-                                                                  true,
-                                                                  false,
-                                                                  false,
-                                                                  true, true,
-                                                                  true,
-                                                                  false)),
-                                                                  (String
-                                                                  ((Ascii
-                                                                  (false,
-                                                                  true, true,
-                                                                  true,
-                                                                  false,
-                                                                  true,
-                                                                  false,
-                                                                  false)),
-                                                                  (String
-                                                                  ((Ascii
-                                                                  (false,
-                                                                  false,
-                                                                  true,
-                                                                  false,
-                                                                  true,
-                                                                  false,
-                                                                  true,
-                                                                  false)),
-                                                                  (String
-                                                                  ((Ascii
-                                                                  (false,
-                                                                  true,
-                                                                  false,
-                                                                  false,
-                                                                  true, true,
-                                                                  true,
-                                                                  false)),
-                                                                  (String
-                                                                  ((Ascii
-                                                                  (true,
-                                                                  false,
-                                                                  false,
-                                                                  true,
-                                                                  false,
-                                                                  true, true,
-                                                                  false)),
-                                                                  (String
-                                                                  ((Ascii
-                                                                  (true,
-                                                                  false,
-                                                                  true, true,
-                                                                  false,
-                                                                  true, true,
-                                                                  false)),
-                                                                  (String
-                                                                  ((Ascii
-                                                                  (true,
-                                                                  true,
-                                                                  false,
-                                                                  false,
-                                                                  true,
-                                                                  false,
-                                                                  true,
-                                                                  false)),
-                                                                  (String
-                                                                  ((Ascii
-                                                                  (false,
-                                                                  false,
-                                                                  false,
-                                                                  false,
-                                                                  true, true,
-                                                                  true,
-                                                                  false)),
-                                                                  (String
-                                                                  ((Ascii
-                                                                  (true,
-                                                                  false,
-                                                                  false,
-                                                                  false,
-                                                                  false,
-                                                                  true, true,
-                                                                  false)),
-                                                                  (String
-                                                                  ((Ascii
-                                                                  (true,
-                                                                  true,
-                                                                  false,
-                                                                  false,
-                                                                  false,
-                                                                  true, true,
-                                                                  false)),
-                                                                  (String
-                                                                  ((Ascii
-                                                                  (true,
-                                                                  false,
-                                                                  true,
-                                                                  false,
-                                                                  false,
-                                                                  true, true,
-                                                                  false)),
-                                                                  EmptyString)))))))))))))))))))))))))))))))))) :: [])) :: (
-    (mkcut (S (S (S (S (S (S (S (S (S (S (S (S (S (S (S (S (S (S (S (S (S (S
-      (S (S (S (S (S (S (S (S (S (S (S (S (S (S (S (S (S (S (S (S (S (S (S (S
-      (S (S (S (S (S (S (S (S (S (S (S (S (S (S (S (S (S (S (S (S (S (S (S (S
-      O))))))))))))))))))))))))))))))))))))))))))))))))))))))))))))))))))))))
-      (S (S (S (S (S (S (S (S (S (S (S (S (S (S (S (S (S (S (S (S (S (S (S (S
-      (S (S (S (S (S (S (S (S (S (S (S (S (S (S (S (S (S (S (S (S (S (S (S (S
-      (S (S (S (S (S (S (S (S (S (S (S (S (S (S (S (S (S (S (S (S (S (S (S (S
-      (S (S (S (S (S (S (S
-      O)))))))))))))))))))))))))))))))))))))))))))))))))))))))))))))))))))))))))))))))
-      EmptyString []) :: ((mkcut (S (S (S (S (S (S (S (S (S (S (S (S (S (S (S
-                            (S (S (S (S (S (S (S (S (S (S (S (S (S (S (S (S
-                            (S (S (S (S (S (S (S (S (S (S (S (S (S (S (S (S
-                            (S (S (S (S (S (S (S (S (S (S (S (S (S (S (S (S
-                            (S (S (S (S (S (S (S (S (S (S (S (S (S (S (S (S
-                            O)))))))))))))))))))))))))))))))))))))))))))))))))))))))))))))))))))))))))))))))
-                            (S (S (S (S (S (S (S (S (S (S (S (S (S (S (S (S
-                            (S (S (S (S (S (S (S (S (S (S (S (S (S (S (S (S
-                            (S (S (S (S (S (S (S (S (S (S (S (S (S (S (S (S
-                            (S (S (S (S (S (S (S (S (S (S (S (S (S (S (S (S
-                            (S (S (S (S (S (S (S (S (S (S (S (S (S (S (S (S
-                            (S (S (S (S (S (S (S (S (S (S (S (S (S (S
-                            O))))))))))))))))))))))))))))))))))))))))))))))))))))))))))))))))))))))))))))))))))))))))))))))
-                            (String ((Ascii (false, false, true, false, true,
-                            false, true, false)), (String ((Ascii (false,
-                            true, false, false, true, true, true, false)),
-                            (String ((Ascii (true, false, false, false,
-                            false, true, true, false)), (String ((Ascii
-                            (true, true, false, false, false, true, true,
-                            false)), (String ((Ascii (true, false, true,
-                            false, false, true, true, false)), (String
-                            ((Ascii (false, true, true, true, false, false,
-                            true, false)), (String ((Ascii (true, false,
-                            true, false, true, true, true, false)), (String
-                            ((Ascii (true, false, true, true, false, true,
-                            true, false)), (String ((Ascii (false, true,
-                            false, false, false, true, true, false)), (String
-                            ((Ascii (true, false, true, false, false, true,
-                            true, false)), (String ((Ascii (false, true,
-                            false, false, true, true, true, false)),
-                            EmptyString)))))))))))))))))))))) ((String
-                            ((Ascii (true, true, false, false, true, true,
-                            true, false)), (String ((Ascii (false, false,
-                            true, false, true, true, true, false)), (String
-                            ((Ascii (false, true, false, false, true, true,
-                            true, false)), (String ((Ascii (true, false,
-                            false, true, false, true, true, false)), (String
-                            ((Ascii (false, true, true, true, false, true,
-                            true, false)), (String ((Ascii (true, true, true,
-                            false, false, true, true, false)), (String
-                            ((Ascii (true, true, false, false, true, true,
-                            true, false)), (String ((Ascii (false, true,
-                            true, true, false, true, false, false)), (String
-                            ((Ascii (false, false, true, false, true, false,
-                            true, false)), (String ((Ascii (false, true,
-                            false, false, true, true, true, false)), (String
-                            ((Ascii (true, false, false, true, false, true,
-                            true, false)), (String ((Ascii (true, false,
-                            true, true, false, true, true, false)), (String
-                            ((Ascii (true, true, false, false, true, false,
-                            true, false)), (String ((Ascii (false, false,
-                            false, false, true, true, true, false)), (String
-                            ((Ascii (true, false, false, false, false, true,
-                            true, false)), (String ((Ascii (true, true,
-                            false, false, false, true, true, false)), (String
-                            ((Ascii (true, false, true, false, false, true,
-                            true, false)),
-                            EmptyString)))))))))))))))))))))))))))))))))) :: [])) :: [])))))))))) }
-
-(** val l_Addenda98Refused : layout **)
-
-let l_Addenda98Refused =
-  { l_name = (String ((Ascii (true, false, false, false, false, false, true,
-    false)), (String ((Ascii (false, false, true, false, false, true, true,
-    false)), (String ((Ascii (false, false, true, false, false, true, true,
-    false)), (String ((Ascii (true, false, true, false, false, true, true,
-    false)), (String ((Ascii (false, true, true, true, false, true, true,
-    false)), (String ((Ascii (false, false, true, false, false, true, true,
-    false)), (String ((Ascii (true, false, false, false, false, true, true,
-    false)), (String ((Ascii (true, false, false, true, true, true, false,
-    false)), (String ((Ascii (false, false, false, true, true, true, false,
-    false)), (String ((Ascii (false, true, false, false, true, false, true,
-    false)), (String ((Ascii (true, false, true, false, false, true, true,
-    false)), (String ((Ascii (false, true, true, false, false, true, true,
-    false)), (String ((Ascii (true, false, true, false, true, true, true,
-    false)), (String ((Ascii (true, true, false, false, true, true, true,
-    false)), (String ((Ascii (true, false, true, false, false, true, true,
-    false)), (String ((Ascii (false, false, true, false, false, true, true,
-    false)), EmptyString)))))))))))))))))))))))))))))))); l_ix = IRune;
-    l_segs = ((SLit ((Npos (XI (XI (XI (XO (XI XH)))))) :: [])) :: ((SRaw
-    (String ((Ascii (false, false, true, false, true, false, true, false)),
-    (String ((Ascii (true, false, false, true, true, true, true, false)),
-    (String ((Ascii (false, false, false, false, true, true, true, false)),
-    (String ((Ascii (true, false, true, false, false, true, true, false)),
-    (String ((Ascii (true, true, false, false, false, false, true, false)),
-    (String ((Ascii (true, true, true, true, false, true, true, false)),
-    (String ((Ascii (false, false, true, false, false, true, true, false)),
-    (String ((Ascii (true, false, true, false, false, true, true, false)),
-    EmptyString))))))))))))))))) :: ((SRaw (String ((Ascii (false, true,
-    false, false, true, false, true, false)), (String ((Ascii (true, false,
-    true, false, false, true, true, false)), (String ((Ascii (false, true,
-    true, false, false, true, true, false)), (String ((Ascii (true, false,
-    true, false, true, true, true, false)), (String ((Ascii (true, true,
-    false, false, true, true, true, false)), (String ((Ascii (true, false,
-    true, false, false, true, true, false)), (String ((Ascii (false, false,
-    true, false, false, true, true, false)), (String ((Ascii (true, true,
-    false, false, false, false, true, false)), (String ((Ascii (false, false,
-    false, true, false, true, true, false)), (String ((Ascii (true, false,
-    false, false, false, true, true, false)), (String ((Ascii (false, true,
-    true, true, false, true, true, false)), (String ((Ascii (true, true,
-    true, false, false, true, true, false)), (String ((Ascii (true, false,
-    true, false, false, true, true, false)), (String ((Ascii (true, true,
-    false, false, false, false, true, false)), (String ((Ascii (true, true,
-    true, true, false, true, true, false)), (String ((Ascii (false, false,
-    true, false, false, true, true, false)), (String ((Ascii (true, false,
-    true, false, false, true, true, false)),
-    EmptyString))))))))))))))))))))))))))))))))))) :: ((SStr ((String ((Ascii
-    (true, true, true, true, false, false, true, false)), (String ((Ascii
-    (false, true, false, false, true, true, true, false)), (String ((Ascii
-    (true, false, false, true, false, true, true, false)), (String ((Ascii
-    (true, true, true, false, false, true, true, false)), (String ((Ascii
-    (true, false, false, true, false, true, true, false)), (String ((Ascii
-    (false, true, true, true, false, true, true, false)), (String ((Ascii
-    (true, false, false, false, false, true, true, false)), (String ((Ascii
-    (false, false, true, true, false, true, true, false)), (String ((Ascii
-    (false, false, true, false, true, false, true, false)), (String ((Ascii
-    (false, true, false, false, true, true, true, false)), (String ((Ascii
-    (true, false, false, false, false, true, true, false)), (String ((Ascii
-    (true, true, false, false, false, true, true, false)), (String ((Ascii
-    (true, false, true, false, false, true, true, false)),
-    EmptyString)))))))))))))))))))))))))), (S (S (S (S (S (S (S (S (S (S (S
-    (S (S (S (S O))))))))))))))))) :: ((SLit ((Npos (XO (XO (XO (XO (XO
-    XH)))))) :: ((Npos (XO (XO (XO (XO (XO XH)))))) :: ((Npos (XO (XO (XO (XO
-    (XO XH)))))) :: ((Npos (XO (XO (XO (XO (XO XH)))))) :: ((Npos (XO (XO (XO
-    (XO (XO XH)))))) :: ((Npos (XO (XO (XO (XO (XO
-    XH)))))) :: []))))))) :: ((SStr ((String ((Ascii (true, true, true, true,
-    false, false, true, false)), (String ((Ascii (false, true, false, false,
-    true, true, true, false)), (String ((Ascii (true, false, false, true,
-    false, true, true, false)), (String ((Ascii (true, true, true, false,
-    false, true, true, false)), (String ((Ascii (true, false, false, true,
-    false, true, true, false)), (String ((Ascii (false, true, true, true,
-    false, true, true, false)), (String ((Ascii (true, false, false, false,
-    false, true, true, false)), (String ((Ascii (false, false, true, true,
-    false, true, true, false)), (String ((Ascii (false, false, true, false,
-    false, false, true, false)), (String ((Ascii (false, true, true, false,
-    false, false, true, false)), (String ((Ascii (true, false, false, true,
-    false, false, true, false)), EmptyString)))))))))))))))))))))), (S (S (S
-    (S (S (S (S (S O)))))))))) :: ((SAlpha ((String ((Ascii (true, true,
-    false, false, false, false, true, false)), (String ((Ascii (true, true,
-    true, true, false, true, true, false)), (String ((Ascii (false, true,
-    false, false, true, true, true, false)), (String ((Ascii (false, true,
-    false, false, true, true, true, false)), (String ((Ascii (true, false,
-    true, false, false, true, true, false)), (String ((Ascii (true, true,
-    false, false, false, true, true, false)), (String ((Ascii (false, false,
-    true, false, true, true, true, false)), (String ((Ascii (true, false,
-    true, false, false, true, true, false)), (String ((Ascii (false, false,
-    true, false, false, true, true, false)), (String ((Ascii (false, false,
-    true, false, false, false, true, false)), (String ((Ascii (true, false,
-    false, false, false, true, true, false)), (String ((Ascii (false, false,
-    true, false, true, true, true, false)), (String ((Ascii (true, false,
-    false, false, false, true, true, false)),
-    EmptyString)))))))))))))))))))))))))), (S (S (S (S (S (S (S (S (S (S (S
-    (S (S (S (S (S (S (S (S (S (S (S (S (S (S (S (S (S (S
-    O))))))))))))))))))))))))))))))) :: ((SRaw (String ((Ascii (true, true,
-    false, false, false, false, true, false)), (String ((Ascii (false, false,
-    false, true, false, true, true, false)), (String ((Ascii (true, false,
-    false, false, false, true, true, false)), (String ((Ascii (false, true,
-    true, true, false, true, true, false)), (String ((Ascii (true, true,
-    true, false, false, true, true, false)), (String ((Ascii (true, false,
-    true, false, false, true, true, false)), (String ((Ascii (true, true,
-    false, false, false, false, true, false)), (String ((Ascii (true, true,
-    true, true, false, true, true, false)), (String ((Ascii (false, false,
-    true, false, false, true, true, false)), (String ((Ascii (true, false,
-    true, false, false, true, true, false)),
-    EmptyString))))))))))))))))))))) :: ((SStr ((String ((Ascii (false,
-    false, true, false, true, false, true, false)), (String ((Ascii (false,
-    true, false, false, true, true, true, false)), (String ((Ascii (true,
-    false, false, false, false, true, true, false)), (String ((Ascii (true,
-    true, false, false, false, true, true, false)), (String ((Ascii (true,
-    false, true, false, false, true, true, false)), (String ((Ascii (true,
-    true, false, false, true, false, true, false)), (String ((Ascii (true,
-    false, true, false, false, true, true, false)), (String ((Ascii (true,
-    false, false, false, true, true, true, false)), (String ((Ascii (true,
-    false, true, false, true, true, true, false)), (String ((Ascii (true,
-    false, true, false, false, true, true, false)), (String ((Ascii (false,
-    true, true, true, false, true, true, false)), (String ((Ascii (true,
-    true, false, false, false, true, true, false)), (String ((Ascii (true,
-    false, true, false, false, true, true, false)), (String ((Ascii (false,
-    true, true, true, false, false, true, false)), (String ((Ascii (true,
-    false, true, false, true, true, true, false)), (String ((Ascii (true,
-    false, true, true, false, true, true, false)), (String ((Ascii (false,
-    true, false, false, false, true, true, false)), (String ((Ascii (true,
-    false, true, false, false, true, true, false)), (String ((Ascii (false,
-    true, false, false, true, true, true, false)),
-    EmptyString)))))))))))))))))))))))))))))))))))))), (S (S (S (S (S (S (S
-    O))))))))) :: ((SLit ((Npos (XO (XO (XO (XO (XO XH)))))) :: ((Npos (XO
-    (XO (XO (XO (XO XH)))))) :: ((Npos (XO (XO (XO (XO (XO XH)))))) :: ((Npos
-    (XO (XO (XO (XO (XO XH)))))) :: ((Npos (XO (XO (XO (XO (XO
-    XH)))))) :: [])))))) :: ((SStr ((String ((Ascii (false, false, true,
-    false, true, false, true, false)), (String ((Ascii (false, true, false,
-    false, true, true, true, false)), (String ((Ascii (true, false, false,
-    false, false, true, true, false)), (String ((Ascii (true, true, false,
-    false, false, true, true, false)), (String ((Ascii (true, false, true,
-    false, false, true, true, false)), (String ((Ascii (false, true, true,
-    true, false, false, true, false)), (String ((Ascii (true, false, true,
-    false, true, true, true, false)), (String ((Ascii (true, false, true,
-    true, false, true, true, false)), (String ((Ascii (false, true, false,
-    false, false, true, true, false)), (String ((Ascii (true, false, true,
-    false, false, true, true, false)), (String ((Ascii (false, true, false,
-    false, true, true, true, false)), EmptyString)))))))))))))))))))))), (S
-    (S (S (S (S (S (S (S (S (S (S (S (S (S (S
-    O))))))))))))))))) :: []))))))))))); l_cuts =
-    ((mkcut O (S O) EmptyString []) :: ((mkcut (S O) (S (S (S O))) (String
-                                          ((Ascii (false, false, true, false,
-                                          true, false, true, false)), (String
-                                          ((Ascii (true, false, false, true,
-                                          true, true, true, false)), (String
-                                          ((Ascii (false, false, false,
-                                          false, true, true, true, false)),
-                                          (String ((Ascii (true, false, true,
-                                          false, false, true, true, false)),
-                                          (String ((Ascii (true, true, false,
-                                          false, false, false, true, false)),
-                                          (String ((Ascii (true, true, true,
-                                          true, false, true, true, false)),
-                                          (String ((Ascii (false, false,
-                                          true, false, false, true, true,
-                                          false)), (String ((Ascii (true,
-                                          false, true, false, false, true,
-                                          true, false)),
-                                          EmptyString))))))))))))))))
-                                          ((String ((Ascii (true, true,
-                                          false, false, true, true, true,
-                                          false)), (String ((Ascii (false,
-                                          false, true, false, true, true,
-                                          true, false)), (String ((Ascii
-                                          (false, true, false, false, true,
-                                          true, true, false)), (String
-                                          ((Ascii (true, false, false, true,
-                                          false, true, true, false)), (String
-                                          ((Ascii (false, true, true, true,
-                                          false, true, true, false)), (String
-                                          ((Ascii (true, true, true, false,
-                                          false, true, true, false)), (String
-                                          ((Ascii (true, true, false, false,
-                                          true, true, true, false)), (String
-                                          ((Ascii (false, true, true, true,
-                                          false, true, false, false)),
-                                          (String ((Ascii (false, false,
-                                          true, false, true, false, true,
-                                          false)), (String ((Ascii (false,
-                                          true, false, false, true, true,
-                                          true, false)), (String ((Ascii
-                                          (true, false, false, true, false,
-                                          true, true, false)), (String
-                                          ((Ascii (true, false, true, true,
-                                          false, true, true, false)), (String
-                                          ((Ascii (true, true, false, false,
-                                          true, false, true, false)), (String
-                                          ((Ascii (false, false, false,
-                                          false, true, true, true, false)),
-                                          (String ((Ascii (true, false,
-                                          false, false, false, true, true,
-                                          false)), (String ((Ascii (true,
-                                          true, false, false, false, true,
-                                          true, false)), (String ((Ascii
-                                          (true, false, true, false, false,
-                                          true, true, false)),
-                                          EmptyString)))))))))))))))))))))))))))))))))) :: [])) :: (
-    (mkcut (S (S (S O))) (S (S (S (S (S (S O)))))) (String ((Ascii (false,
-      true, false, false, true, false, true, false)), (String ((Ascii (true,
-      false, true, false, false, true, true, false)), (String ((Ascii (false,
-      true, true, false, false, true, true, false)), (String ((Ascii (true,
-      false, true, false, true, true, true, false)), (String ((Ascii (true,
-      true, false, false, true, true, true, false)), (String ((Ascii (true,
-      false, true, false, false, true, true, false)), (String ((Ascii (false,
-      false, true, false, false, true, true, false)), (String ((Ascii (true,
-      true, false, false, false, false, true, false)), (String ((Ascii
-      (false, false, false, true, false, true, true, false)), (String ((Ascii
-      (true, false, false, false, false, true, true, false)), (String ((Ascii
-      (false, true, true, true, false, true, true, false)), (String ((Ascii
-      (true, true, true, false, false, true, true, false)), (String ((Ascii
-      (true, false, true, false, false, true, true, false)), (String ((Ascii
-      (true, true, false, false, false, false, true, false)), (String ((Ascii
-      (true, true, true, true, false, true, true, false)), (String ((Ascii
-      (false, false, true, false, false, true, true, false)), (String ((Ascii
-      (true, false, true, false, false, true, true, false)),
-      EmptyString)))))))))))))))))))))))))))))))))) ((String ((Ascii (true,
-      true, false, false, true, true, true, false)), (String ((Ascii (false,
-      false, true, false, true, true, true, false)), (String ((Ascii (false,
-      true, false, false, true, true, true, false)), (String ((Ascii (true,
-      false, false, true, false, true, true, false)), (String ((Ascii (false,
-      true, true, true, false, true, true, false)), (String ((Ascii (true,
-      true, true, false, false, true, true, false)), (String ((Ascii (true,
-      true, false, false, true, true, true, false)), (String ((Ascii (false,
-      true, true, true, false, true, false, false)), (String ((Ascii (false,
-      false, true, false, true, false, true, false)), (String ((Ascii (false,
-      true, false, false, true, true, true, false)), (String ((Ascii (true,
-      false, false, true, false, true, true, false)), (String ((Ascii (true,
-      false, true, true, false, true, true, false)), (String ((Ascii (true,
-      true, false, false, true, false, true, false)), (String ((Ascii (false,
-      false, false, false, true, true, true, false)), (String ((Ascii (true,
-      false, false, false, false, true, true, false)), (String ((Ascii (true,
-      true, false, false, false, true, true, false)), (String ((Ascii (true,
-      false, true, false, false, true, true, false)),
-      EmptyString)))))))))))))))))))))))))))))))))) :: [])) :: ((mkcut (S (S
-                                                                  (S (S (S (S
-                                                                  O)))))) (S
-                                                                  (S (S (S (S
-                                                                  (S (S (S (S
-                                                                  (S (S (S (S
-                                                                  (S (S (S (S
-                                                                  (S (S (S (S
-                                                                  O)))))))))))))))))))))
-                                                                  (String
-                                                                  ((Ascii
-                                                                  (true,
-                                                                  true, true,
-                                                                  true,
-                                                                  false,
-                                                                  false,
-                                                                  true,
-                                                                  false)),
-                                                                  (String
-                                                                  ((Ascii
-                                                                  (false,
-                                                                  true,
-                                                                  false,
-                                                                  false,
-                                                                  true, true,
-                                                                  true,
-                                                                  false)),
-                                                                  (String
-                                                                  ((Ascii
-                                                                  (true,
-                                                                  false,
-                                                                  false,
-                                                                  true,
-                                                                  false,
-                                                                  true, true,
-                                                                  false)),
-                                                                  (String
-                                                                  ((Ascii
-                                                                  (true,
-                                                                  true, true,
-                                                                  false,
-                                                                  false,
-                                                                  true, true,
-                                                                  false)),
-                                                                  (String
-                                                                  ((Ascii
-                                                                  (true,
-                                                                  false,
-                                                                  false,
-                                                                  true,
-                                                                  false,
-                                                                  true, true,
-                                                                  false)),
-                                                                  (String
-                                                                  ((Ascii
-                                                                  (false,
-                                                                  true, true,
-                                                                  true,
-                                                                  false,
-                                                                  true, true,
-                                                                  false)),
-                                                                  (String
-                                                                  ((Ascii
-                                                                  (true,
-                                                                  false,
-                                                                  false,
-                                                                  false,
-                                                                  false,
-                                                                  true, true,
-                                                                  false)),
-                                                                  (String
-                                                                  ((Ascii
-                                                                  (false,
-                                                                  false,
-                                                                  true, true,
-                                                                  false,
-                                                                  true, true,
-                                                                  false)),
-                                                                  (String
-                                                                  ((Ascii
-                                                                  (false,
-                                                                  false,
-                                                                  true,
-                                                                  false,
-                                                                  true,
-                                                                  false,
-                                                                  true,
-                                                                  false)),
-                                                                  (String
-                                                                  ((Ascii
-                                                                  (false,
-                                                                  true,
-                                                                  false,
-                                                                  false,
-                                                                  true, true,
-                                                                  true,
-                                                                  false)),
-                                                                  (String
-                                                                  ((Ascii
-                                                                  (true,
-                                                                  false,
-                                                                  false,
-                                                                  false,
-                                                                  false,
-                                                                  true, true,
-                                                                  false)),
-                                                                  (String
-                                                                  ((Ascii
-                                                                  (true,
-                                                                  true,
-                                                                  false,
-                                                                  false,
-                                                                  false,
-                                                                  true, true,
-                                                                  false)),
-                                                                  (String
-                                                                  ((Ascii
-                                                                  (true,
-                                                                  false,
-                                                                  true,
-                                                                  false,
-                                                                  false,
-                                                                  true, true,
-                                                                  false)),
-                                                                  EmptyString))))))))))))))))))))))))))
-                                                                  ((String
-                                                                  ((Ascii
-                                                                  (true,
-                                                                  true,
-                                                                  false,
-                                                                  false,
-                                                                  true, true,
-                                                                  true,
-                                                                  false)),
-                                                                  (String
-                                                                  ((Ascii
-                                                                  (false,
-                                                                  false,
-                                                                  true,
-                                                                  false,
-                                                                  true, true,
-                                                                  true,
-                                                                  false)),
-                                                                  (String
-                                                                  ((Ascii
-                                                                  (false,
-                                                                  true,
-                                                                  false,
-                                                                  false,
-                                                                  true, true,
-                                                                  true,
-                                                                  false)),
-                                                                  (String
-                                                                  ((Ascii
-                                                                  (true,
-                                                                  false,
-                                                                  false,
-                                                                  true,
-                                                                  false,
-                                                                  true, true,
-                                                                  false)),
-                                                                  (String
-                                                                  ((Ascii
-                                                                  (false,
-                                                                  true, true,
-                                                                  true,
-                                                                  false,
-                                                                  true, true,
-                                                                  false)),
-                                                                  (String
-                                                                  ((Ascii
-                                                                  (true,
-                                                                  true, true,
-                                                                  false,
-                                                                  false,
-                                                                  true, true,
-                                                                  false)),
-                                                                  (String
-                                                                  ((Ascii
-                                                                  (true,
-                                                                  true,
-                                                                  false,
-                                                                  false,
-                                                                  true, true,
-                                                                  true,
-                                                                  false)),
-                                                                  (String
-                                                                  ((Ascii
-                                                                  (false,
-                                                                  true, true,
-                                                                  true,
-                                                                  false,
-                                                                  true,
-                                                                  false,
-                                                                  false)),
-                                                                  (String
-                                                                  ((Ascii
-                                                                  (false,
-                                                                  false,
-                                                                  true,
-                                                                  false,
-                                                                  true,
-                                                                  false,
-                                                                  true,
-                                                                  false)),
-                                                                  (String
-                                                                  ((Ascii
-                                                                  (false,
-                                                                  true,
-                                                                  false,
-                                                                  false,
-                                                                  true, true,
-                                                                  true,
-                                                                  false)),
-                                                                  (String
-                                                                  ((Ascii
-                                                                  (true,
-                                                                  false,
-                                                                  false,
-                                                                  true,
-                                                                  false,
-                                                                  true, true,
-                                                                  false)),
-                                                                  (String
-                                                                  ((Ascii
-                                                                  (true,
-                                                                  false,
-                                                                  true, true,
-                                                                  false,
-                                                                  true, true,
-                                                                  false)),
-                                                                  (String
-                                                                  ((Ascii
-                                                                  (true,
-                                                                  true,
-                                                                  false,
-                                                                  false,
-                                                                  true,
-                                                                  false,
-                                                                  true,
-                                                                  false)),
-                                                                  (String
-                                                                  ((Ascii
-                                                                  (false,
-                                                                  false,
-                                                                  false,
-                                                                  false,
-                                                                  true, true,
-                                                                  true,
-                                                                  false)),
-                                                                  (String
-                                                                  ((Ascii
-                                                                  (true,
-                                                                  false,
-                                                                  false,
-                                                                  false,
-                                                                  false,
-                                                                  true, true,
-                                                                  false)),
-                                                                  (String
-                                                                  ((Ascii
-                                                                  (true,
-                                                                  true,
-                                                                  false,
-                                                                  false,
-                                                                  false,
-                                                                  true, true,
-                                                                  false)),
-                                                                  (String
-                                                                  ((Ascii
-                                                                  (true,
-                                                                  false,
-                                                                  true,
-                                                                  false,
-                                                                  false,
-                                                                  true, true,
-                                                                  false)),
-                                                                  EmptyString)))))))))))))))))))))))))))))))))) :: [])) :: (
-    (mkcut (S (S (S (S (S (S (S (S (S (S (S (S (S (S (S (S (S (S (S (S (S
-      O))))))))))))))))))))) (S (S (S (S (S (S (S (S (S (S (S (S (S (S (S (S
-      (S (S (S (S (S (S (S (S (S (S (S O)))))))))))))))))))))))))))
-      EmptyString []) :: ((mkcut (S (S (S (S (S (S (S (S (S (S (S (S (S (S (S
-                            (S (S (S (S (S (S (S (S (S (S (S (S
-                            O))))))))))))))))))))))))))) (S (S (S (S (S (S (S
-                            (S (S (S (S (S (S (S (S (S (S (S (S (S (S (S (S
-                            (S (S (S (S (S (S (S (S (S (S (S (S
-                            O))))))))))))))))))))))))))))))))))) (String
-                            ((Ascii (true, true, true, true, false, false,
-                            true, false)), (String ((Ascii (false, true,
-                            false, false, true, true, true, false)), (String
-                            ((Ascii (true, false, false, true, false, true,
-                            true, false)), (String ((Ascii (true, true, true,
-                            false, false, true, true, false)), (String
-                            ((Ascii (true, false, false, true, false, true,
-                            true, false)), (String ((Ascii (false, true,
-                            true, true, false, true, true, false)), (String
-                            ((Ascii (true, false, false, false, false, true,
-                            true, false)), (String ((Ascii (false, false,
-                            true, true, false, true, true, false)), (String
-                            ((Ascii (false, false, true, false, false, false,
-                            true, false)), (String ((Ascii (false, true,
-                            true, false, false, false, true, false)), (String
-                            ((Ascii (true, false, false, true, false, false,
-                            true, false)), EmptyString))))))))))))))))))))))
-                            ((String ((Ascii (false, false, false, false,
-                            true, true, true, false)), (String ((Ascii (true,
-                            false, false, false, false, true, true, false)),
-                            (String ((Ascii (false, true, false, false, true,
-                            true, true, false)), (String ((Ascii (true, true,
-                            false, false, true, true, true, false)), (String
-                            ((Ascii (true, false, true, false, false, true,
-                            true, false)), (String ((Ascii (true, true,
-                            false, false, true, false, true, false)), (String
-                            ((Ascii (false, false, true, false, true, true,
-                            true, false)), (String ((Ascii (false, true,
-                            false, false, true, true, true, false)), (String
-                            ((Ascii (true, false, false, true, false, true,
-                            true, false)), (String ((Ascii (false, true,
-                            true, true, false, true, true, false)), (String
-                            ((Ascii (true, true, true, false, false, true,
-                            true, false)), (String ((Ascii (false, true,
-                            true, false, false, false, true, false)), (String
-                            ((Ascii (true, false, false, true, false, true,
-                            true, false)), (String ((Ascii (true, false,
-                            true, false, false, true, true, false)), (String
-                            ((Ascii (false, false, true, true, false, true,
-                            true, false)), (String ((Ascii (false, false,
-                            true, false, false, true, true, false)),
-                            EmptyString)))))))))))))))))))))))))))))))) :: [])) :: (
-    (mkcut (S (S (S (S (S (S (S (S (S (S (S (S (S (S (S (S (S (S (S (S (S (S
-      (S (S (S (S (S (S (S (S (S (S (S (S (S
-      O))))))))))))))))))))))))))))))))))) (S (S (S (S (S (S (S (S (S (S (S
-      (S (S (S (S (S (S (S (S (S (S (S (S (S (S (S (S (S (S (S (S (S (S (S (S
-      (S (S (S (S (S (S (S (S (S (S (S (S (S (S (S (S (S (S (S (S (S (S (S (S
-      (S (S (S (S (S
-      O))))))))))))))))))))))))))))))))))))))))))))))))))))))))))))))))
-      (String ((Ascii (true, true, false, false, false, false, true, false)),
-      (String ((Ascii (true, true, true, true, false, true, true, false)),
-      (String ((Ascii (false, true, false, false, true, true, true, false)),
-      (String ((Ascii (false, true, false, false, true, true, true, false)),
-      (String ((Ascii (true, false, true, false, false, true, true, false)),
-      (String ((Ascii (true, true, false, false, false, true, true, false)),
-      (String ((Ascii (false, false, true, false, true, true, true, false)),
-      (String ((Ascii (true, false, true, false, false, true, true, false)),
-      (String ((Ascii (false, false, true, false, false, true, true, false)),
-      (String ((Ascii (false, false, true, false, false, false, true,
-      false)), (String ((Ascii (true, false, false, false, false, true, true,
-      false)), (String ((Ascii (false, false, true, false, true, true, true,
-      false)), (String ((Ascii (true, false, false, false, false, true, true,
-      false)), EmptyString)))))))))))))))))))))))))) ((String ((Ascii (true,
-      true, false, false, true, true, true, false)), (String ((Ascii (false,
-      false, true, false, true, true, true, false)), (String ((Ascii (false,
-      true, false, false, true, true, true, false)), (String ((Ascii (true,
-      false, false, true, false, true, true, false)), (String ((Ascii (false,
-      true, true, true, false, true, true, false)), (String ((Ascii (true,
-      true, true, false, false, true, true, false)), (String ((Ascii (true,
-      true, false, false, true, true, true, false)), (String ((Ascii (false,
-      true, true, true, false, true, false, false)), (String ((Ascii (false,
-      false, true, false, true, false, true, false)), (String ((Ascii (false,
-      true, false, false, true, true, true, false)), (String ((Ascii (true,
-      false, false, true, false, true, true, false)), (String ((Ascii (true,
-      false, true, true, false, true, true, false)), (String ((Ascii (true,
-      true, false, false, true, false, true, false)), (String ((Ascii (false,
-      false, false, false, true, true, true, false)), (String ((Ascii (true,
-      false, false, false, false, true, true, false)), (String ((Ascii (true,
-      true, false, false, false, true, true, false)), (String ((Ascii (true,
-      false, true, false, false, true, true, false)),
-      EmptyString)))))))))))))))))))))))))))))))))) :: [])) :: ((mkcut (S (S
-                                                                  (S (S (S (S
-                                                                  (S (S (S (S
-                                                                  (S (S (S (S
-                                                                  (S (S (S (S
-                                                                  (S (S (S (S
-                                                                  (S (S (S (S
-                                                                  (S (S (S (S
-                                                                  (S (S (S (S
-                                                                  (S (S (S (S
-                                                                  (S (S (S (S
-                                                                  (S (S (S (S
-                                                                  (S (S (S (S
-                                                                  (S (S (S (S
-                                                                  (S (S (S (S
-                                                                  (S (S (S (S
-                                                                  (S (S
-                                                                  O))))))))))))))))))))))))))))))))))))))))))))))))))))))))))))))))
-                                                                  (S (S (S (S
-                                                                  (S (S (S (S
-                                                                  (S (S (S (S
-                                                                  (S (S (S (S
-                                                                  (S (S (S (S
-                                                                  (S (S (S (S
-                                                                  (S (S (S (S
-                                                                  (S (S (S (S
-                                                                  (S (S (S (S
-                                                                  (S (S (S (S
-                                                                  (S (S (S (S
-                                                                  (S (S (S (S
-                                                                  (S (S (S (S
-                                                                  (S (S (S (S
-                                                                  (S (S (S (S
-                                                                  (S (S (S (S
-                                                                  (S (S (S
-                                                                  O)))))))))))))))))))))))))))))))))))))))))))))))))))))))))))))))))))
-                                                                  (String
-                                                                  ((Ascii
-                                                                  (true,
-                                                                  true,
-                                                                  false,
-                                                                  false,
-                                                                  false,
-                                                                  false,
-                                                                  true,
-                                                                  false)),
-                                                                  (String
-                                                                  ((Ascii
-                                                                  (false,
-                                                                  false,
-                                                                  false,
-                                                                  true,
-                                                                  false,
-                                                                  true, true,
-                                                                  false)),
-                                                                  (String
-                                                                  ((Ascii
-                                                                  (true,
-                                                                  false,
-                                                                  false,
-                                                                  false,
-                                                                  false,
-                                                                  true, true,
-                                                                  false)),
-                                                                  (String
-                                                                  ((Ascii
-                                                                  (false,
-                                                                  true, true,
-                                                                  true,
-                                                                  false,
-                                                                  true, true,
-                                                                  false)),
-                                                                  (String
-                                                                  ((Ascii
-                                                                  (true,
-                                                                  true, true,
-                                                                  false,
-                                                                  false,
-                                                                  true, true,
-                                                                  false)),
-                                                                  (String
-                                                                  ((Ascii
-                                                                  (true,
-                                                                  false,
-                                                                  true,
-                                                                  false,
-                                                                  false,
-                                                                  true, true,
-                                                                  false)),
-                                                                  (String
-                                                                  ((Ascii
-                                                                  (true,
-                                                                  true,
-                                                                  false,
-                                                                  false,
-                                                                  false,
-                                                                  false,
-                                                                  true,
-                                                                  false)),
-                                                                  (String
-                                                                  ((Ascii
-                                                                  (true,
-                                                                  true, true,
-                                                                  true,
-                                                                  false,
-                                                                  true, true,
-                                                                  false)),
-                                                                  (String
-                                                                  ((Ascii
-                                                                  (false,
-                                                                  false,
-                                                                  true,
-                                                                  false,
-                                                                  false,
-                                                                  true, true,
-                                                                  false)),
-                                                                  (String
-                                                                  ((Ascii
-                                                                  (true,
-                                                                  false,
-                                                                  true,
-                                                                  false,
-                                                                  false,
-                                                                  true, true,
-                                                                  false)),
-                                                                  EmptyString))))))))))))))))))))
-                                                                  ((String
-                                                                  ((Ascii
-                                                                  (true,
-                                                                  true,
-                                                                  false,
-                                                                  false,
-                                                                  true, true,
-                                                                  true,
-                                                                  false)),
-                                                                  (String
-                                                                  ((Ascii
-                                                                  (false,
-                                                                  false,
-                                                                  true,
-                                                                  false,
-                                                                  true, true,
-                                                                  true,
-                                                                  false)),
-                                                                  (String
-                                                                  ((Ascii
-                                                                  (false,
-                                                                  true,
-                                                                  false,
-                                                                  false,
-                                                                  true, true,
-                                                                  true,
-                                                                  false)),
-                                                                  (String
-                                                                  ((Ascii
-                                                                  (true,
-                                                                  false,
-                                                                  false,
-                                                                  true,
-                                                                  false,
-                                                                  true, true,
-                                                                  false)),
-                                                                  (String
-                                                                  ((Ascii
-                                                                  (false,
-                                                                  true, true,
-                                                                  true,
-                                                                  false,
-                                                                  true, true,
-                                                                  false)),
-                                                                  (String
-                                                                  ((Ascii
-                                                                  (true,
-                                                                  true, true,
-                                                                  false,
-                                                                  false,
-                                                                  true, true,
-                                                                  false)),
-                                                                  (String
-                                                                  ((Ascii
-                                                                  (true,
-                                                                  true,
-                                                                  false,
-                                                                  false,
-                                                                  true, true,
-                                                                  true,
-                                                                  false)),
-                                                                  (String
-                                                                  ((Ascii
-                                                                  (false,
-                                                                  true, true,
-                                                                  true,
-                                                                  false,
-                                                                  true,
-                                                                  false,
-                                                                  false)),
-                                                                  (String
-                                                                  ((Ascii
-                                                                  (false,
-                                                                  false,
-                                                                  true,
-                                                                  false,
-                                                                  true,
-                                                                  false,
-                                                                  true,
-                                                                  false)),
-                                                                  (String
-                                                                  ((Ascii
-                                                                  (false,
-                                                                  true,
-                                                                  false,
-                                                                  false,
-                                                                  true, true,
-                                                                  true,
-                                                                  false)),
-                                                                  (String
-                                                                  ((Ascii
-                                                                  (true,
-                                                                  false,
-                                                                  false,
-                                                                  true,
-                                                                  false,
-                                                                  true, true,
-                                                                  false)),
-                                                                  (String
-                                                                  ((Ascii
-                                                                  (true,
-                                                                  false,
-                                                                  true, true,
-                                                                  false,
-                                                                  true, true,
-                                                                  false)),
-                                                                  (String
-                                                                  ((Ascii
-                                                                  (true,
-                                                                  true,
-                                                                  false,
-                                                                  false,
-                                                                  true,
-                                                                  false,
-                                                                  true,
-                                                                  false)),
-                                                                  (String
-                                                                  ((Ascii
-                                                                  (false,
-                                                                  false,
-                                                                  false,
-                                                                  false,
-                                                                  true, true,
-                                                                  true,
-                                                                  false)),
-                                                                  (String
-                                                                  ((Ascii
-                                                                  (true,
-                                                                  false,
-                                                                  false,
-                                                                  false,
-                                                                  false,
-                                                                  true, true,
-                                                                  false)),
-                                                                  (String
-                                                                  ((Ascii
-                                                                  (true,
-                                                                  true,
-                                                                  false,
-                                                                  false,
-                                                                  false,
-                                                                  true, true,
-                                                                  false)),
-                                                                  (String
-                                                                  ((Ascii
-                                                                  (true,
-                                                                  false,
-                                                                  true,
-                                                                  false,
-                                                                  false,
-                                                                  true, true,
-                                                                  false)),
-                                                                  EmptyString)))))))))))))))))))))))))))))))))) :: [])) :: (
-    (mkcut (S (S (S (S (S (S (S (S (S (S (S (S (S (S (S (S (S (S (S (S (S (S
-      (S (S (S (S (S (S (S (S (S (S (S (S (S (S (S (S (S (S (S (S (S (S (S (S
-      (S (S (S (S (S (S (S (S (S (S (S (S (S (S (S (S (S (S (S (S (S
-      O))))))))))))))))))))))))))))))))))))))))))))))))))))))))))))))))))) (S
-      (S (S (S (S (S (S (S (S (S (S (S (S (S (S (S (S (S (S (S (S (S (S (S (S
-      (S (S (S (S (S (S (S (S (S (S (S (S (S (S (S (S (S (S (S (S (S (S (S (S
-      (S (S (S (S (S (S (S (S (S (S (S (S (S (S (S (S (S (S (S (S (S (S (S (S
-      (S
-      O))))))))))))))))))))))))))))))))))))))))))))))))))))))))))))))))))))))))))
-      (String ((Ascii (false, false, true, false, true, false, true, false)),
-      (String ((Ascii (false, true, false, false, true, true, true, false)),
-      (String ((Ascii (true, false, false, false, false, true, true, false)),
-      (String ((Ascii (true, true, false, false, false, true, true, false)),
-      (String ((Ascii (true, false, true, false, false, true, true, false)),
-      (String ((Ascii (true, true, false, false, true, false, true, false)),
-      (String ((Ascii (true, false, true, false, false, true, true, false)),
-      (String ((Ascii (true, false, false, false, true, true, true, false)),
-      (String ((Ascii (true, false, true, false, true, true, true, false)),
-      (String ((Ascii (true, false, true, false, false, true, true, false)),
-      (String ((Ascii (false, true, true, true, false, true, true, false)),
-      (String ((Ascii (true, true, false, false, false, true, true, false)),
-      (String ((Ascii (true, false, true, false, false, true, true, false)),
-      (String ((Ascii (false, true, true, true, false, false, true, false)),
-      (String ((Ascii (true, false, true, false, true, true, true, false)),
-      (String ((Ascii (true, false, true, true, false, true, true, false)),
-      (String ((Ascii (false, true, false, false, false, true, true, false)),
-      (String ((Ascii (true, false, true, false, false, true, true, false)),
-      (String ((Ascii (false, true, false, false, true, true, true, false)),
-      EmptyString)))))))))))))))))))))))))))))))))))))) ((String ((Ascii
-      (true, true, false, false, true, true, true, false)), (String ((Ascii
-      (false, false, true, false, true, true, true, false)), (String ((Ascii
-      (false, true, false, false, true, true, true, false)), (String ((Ascii
-      (true, false, false, true, false, true, true, false)), (String ((Ascii
-      (false, true, true, true, false, true, true, false)), (String ((Ascii
-      (true, true, true, false, false, true, true, false)), (String ((Ascii
-      (true, true, false, false, true, true, true, false)), (String ((Ascii
-      (false, true, true, true, false, true, false, false)), (String ((Ascii
-      (false, false, true, false, true, false, true, false)), (String ((Ascii
-      (false, true, false, false, true, true, true, false)), (String ((Ascii
-      (true, false, false, true, false, true, true, false)), (String ((Ascii
-      (true, false, true, true, false, true, true, false)), (String ((Ascii
-      (true, true, false, false, true, false, true, false)), (String ((Ascii
-      (false, false, false, false, true, true, true, false)), (String ((Ascii
-      (true, false, false, false, false, true, true, false)), (String ((Ascii
-      (true, true, false, false, false, true, true, false)), (String ((Ascii
-      (true, false, true, false, false, true, true, false)),
-      EmptyString)))))))))))))))))))))))))))))))))) :: [])) :: ((mkcut (S (S
-                                                                  (S (S (S (S
-                                                                  (S (S (S (S
-                                                                  (S (S (S (S
-                                                                  (S (S (S (S
-                                                                  (S (S (S (S
-                                                                  (S (S (S (S
-                                                                  (S (S (S (S
-                                                                  (S (S (S (S
-                                                                  (S (S (S (S
-                                                                  (S (S (S (S
-                                                                  (S (S (S (S
-                                                                  (S (S (S (S
-                                                                  (S (S (S (S
-                                                                  (S (S (S (S
-                                                                  (S (S (S (S
-                                                                  (S (S (S (S
-                                                                  (S (S (S (S
-                                                                  (S (S (S (S
-                                                                  O))))))))))))))))))))))))))))))))))))))))))))))))))))))))))))))))))))))))))
-                                                                  (S (S (S (S
-                                                                  (S (S (S (S
-                                                                  (S (S (S (S
-                                                                  (S (S (S (S
-                                                                  (S (S (S (S
-                                                                  (S (S (S (S
-                                                                  (S (S (S (S
-                                                                  (S (S (S (S
-                                                                  (S (S (S (S
-                                                                  (S (S (S (S
-                                                                  (S (S (S (S
-                                                                  (S (S (S (S
-                                                                  (S (S (S (S
-                                                                  (S (S (S (S
-                                                                  (S (S (S (S
-                                                                  (S (S (S (S
-                                                                  (S (S (S (S
-                                                                  (S (S (S (S
-                                                                  (S (S (S (S
-                                                                  (S (S (S
-                                                                  O)))))))))))))))))))))))))))))))))))))))))))))))))))))))))))))))))))))))))))))))
-                                                                  EmptyString
-                                                                  []) :: (
-    (mkcut (S (S (S (S (S (S (S (S (S (S (S (S (S (S (S (S (S (S (S (S (S (S
-      (S (S (S (S (S (S (S (S (S (S (S (S (S (S (S (S (S (S (S (S (S (S (S (S
-      (S (S (S (S (S (S (S (S (S (S (S (S (S (S (S (S (S (S (S (S (S (S (S (S
-      (S (S (S (S (S (S (S (S (S
-      O)))))))))))))))))))))))))))))))))))))))))))))))))))))))))))))))))))))))))))))))
-      (S (S (S (S (S (S (S (S (S (S (S (S (S (S (S (S (S (S (S (S (S (S (S (S
-      (S (S (S (S (S (S (S (S (S (S (S (S (S (S (S (S (S (S (S (S (S (S (S (S
-      (S (S (S (S (S (S (S (S (S (S (S (S (S (S (S (S (S (S (S (S (S (S (S (S
-      (S (S (S (S (S (S (S (S (S (S (S (S (S (S (S (S (S (S (S (S (S (S
-      O))))))))))))))))))))))))))))))))))))))))))))))))))))))))))))))))))))))))))))))))))))))))))))))
-      (String ((Ascii (false, false, true, false, true, false, true, false)),
-      (String ((Ascii (false, true, false, false, true, true, true, false)),
-      (String ((Ascii (true, false, false, false, false, true, true, false)),
-      (String ((Ascii (true, true, false, false, false, true, true, false)),
-      (String ((Ascii (true, false, true, false, false, true, true, false)),
-      (String ((Ascii (false, true, true, true, false, false, true, false)),
-      (String ((Ascii (true, false, true, false, true, true, true, false)),
-      (String ((Ascii (true, false, true, true, false, true, true, false)),
-      (String ((Ascii (false, true, false, false, false, true, true, false)),
-      (String ((Ascii (true, false, true, false, false, true, true, false)),
-      (String ((Ascii (false, true, false, false, true, true, true, false)),
-      EmptyString)))))))))))))))))))))) ((String ((Ascii (true, true, false,
-      false, true, true, true, false)), (String ((Ascii (false, false, true,
-      false, true, true, true, false)), (String ((Ascii (false, true, false,
-      false, true, true, true, false)), (String ((Ascii (true, false, false,
-      true, false, true, true, false)), (String ((Ascii (false, true, true,
-      true, false, true, true, false)), (String ((Ascii (true, true, true,
-      false, false, true, true, false)), (String ((Ascii (true, true, false,
-      false, true, true, true, false)), (String ((Ascii (false, true, true,
-      true, false, true, false, false)), (String ((Ascii (false, false, true,
-      false, true, false, true, false)), (String ((Ascii (false, true, false,
-      false, true, true, true, false)), (String ((Ascii (true, false, false,
-      true, false, true, true, false)), (String ((Ascii (true, false, true,
-      true, false, true, true, false)), (String ((Ascii (true, true, false,
-      false, true, false, true, false)), (String ((Ascii (false, false,
-      false, false, true, true, true, false)), (String ((Ascii (true, false,
-      false, false, false, true, true, false)), (String ((Ascii (true, true,
-      false, false, false, true, true, false)), (String ((Ascii (true, false,
-      true, false, false, true, true, false)),
-      EmptyString)))))))))))))))))))))))))))))))))) :: [])) :: []))))))))))) }
-
-(** val l_Addenda99 : layout **)
-
-let l_Addenda99 =
-  { l_name = (String ((Ascii (true, false, false, false, false, false, true,
-    false)), (String ((Ascii (false, false, true, false, false, true, true,
-    false)), (String ((Ascii (false, false, true, false, false, true, true,
-    false)), (String ((Ascii (true, false, true, false, false, true, true,
-    false)), (String ((Ascii (false, true, true, true, false, true, true,
-    false)), (String ((Ascii (false, false, true, false, false, true, true,
-    false)), (String ((Ascii (true, false, false, false, false, true, true,
-    false)), (String ((Ascii (true, false, false, true, true, true, false,
-    false)), (String ((Ascii (true, false, false, true, true, true, false,
-    false)), EmptyString)))))))))))))))))); l_ix = IRune; l_segs = ((SLit
-    ((Npos (XI (XI (XI (XO (XI XH)))))) :: [])) :: ((SRaw (String ((Ascii
-    (false, false, true, false, true, false, true, false)), (String ((Ascii
-    (true, false, false, true, true, true, true, false)), (String ((Ascii
-    (false, false, false, false, true, true, true, false)), (String ((Ascii
-    (true, false, true, false, false, true, true, false)), (String ((Ascii
-    (true, true, false, false, false, false, true, false)), (String ((Ascii
-    (true, true, true, true, false, true, true, false)), (String ((Ascii
-    (false, false, true, false, false, true, true, false)), (String ((Ascii
-    (true, false, true, false, false, true, true, false)),
-    EmptyString))))))))))))))))) :: ((SRaw (String ((Ascii (false, true,
-    false, false, true, false, true, false)), (String ((Ascii (true, false,
-    true, false, false, true, true, false)), (String ((Ascii (false, false,
-    true, false, true, true, true, false)), (String ((Ascii (true, false,
-    true, false, true, true, true, false)), (String ((Ascii (false, true,
-    false, false, true, true, true, false)), (String ((Ascii (false, true,
-    true, true, false, true, true, false)), (String ((Ascii (true, true,
-    false, false, false, false, true, false)), (String ((Ascii (true, true,
-    true, true, false, true, true, false)), (String ((Ascii (false, false,
-    true, false, false, true, true, false)), (String ((Ascii (true, false,
-    true, false, false, true, true, false)),
-    EmptyString))))))))))))))))))))) :: ((SStr ((String ((Ascii (true, true,
-    true, true, false, false, true, false)), (String ((Ascii (false, true,
-    false, false, true, true, true, false)), (String ((Ascii (true, false,
-    false, true, false, true, true, false)), (String ((Ascii (true, true,
-    true, false, false, true, true, false)), (String ((Ascii (true, false,
-    false, true, false, true, true, false)), (String ((Ascii (false, true,
-    true, true, false, true, true, false)), (String ((Ascii (true, false,
-    false, false, false, true, true, false)), (String ((Ascii (false, false,
-    true, true, false, true, true, false)), (String ((Ascii (false, false,
-    true, false, true, false, true, false)), (String ((Ascii (false, true,
-    false, false, true, true, true, false)), (String ((Ascii (true, false,
-    false, false, false, true, true, false)), (String ((Ascii (true, true,
-    false, false, false, true, true, false)), (String ((Ascii (true, false,
-    true, false, false, true, true, false)),
-    EmptyString)))))))))))))))))))))))))), (S (S (S (S (S (S (S (S (S (S (S
-    (S (S (S (S O))))))))))))))))) :: ((SCustom ((String ((Ascii (true,
-    false, false, false, false, false, true, false)), (String ((Ascii (false,
-    false, true, false, false, true, true, false)), (String ((Ascii (false,
-    false, true, false, false, true, true, false)), (String ((Ascii (true,
-    false, true, false, false, true, true, false)), (String ((Ascii (false,
-    true, true, true, false, true, true, false)), (String ((Ascii (false,
-    false, true, false, false, true, true, false)), (String ((Ascii (true,
-    false, false, false, false, true, true, false)), (String ((Ascii (true,
-    false, false, true, true, true, false, false)), (String ((Ascii (true,
-    false, false, true, true, true, false, false)), (String ((Ascii (false,
-    true, true, true, false, true, false, false)), (String ((Ascii (false,
-    false, true, false, false, false, true, false)), (String ((Ascii (true,
-    false, false, false, false, true, true, false)), (String ((Ascii (false,
-    false, true, false, true, true, true, false)), (String ((Ascii (true,
-    false, true, false, false, true, true, false)), (String ((Ascii (true,
-    true, true, true, false, false, true, false)), (String ((Ascii (false,
-    true, true, false, false, true, true, false)), (String ((Ascii (false,
-    false, true, false, false, false, true, false)), (String ((Ascii (true,
-    false, true, false, false, true, true, false)), (String ((Ascii (true,
-    false, false, false, false, true, true, false)), (String ((Ascii (false,
-    false, true, false, true, true, true, false)), (String ((Ascii (false,
-    false, false, true, false, true, true, false)), (String ((Ascii (false,
-    true, true, false, false, false, true, false)), (String ((Ascii (true,
-    false, false, true, false, true, true, false)), (String ((Ascii (true,
-    false, true, false, false, true, true, false)), (String ((Ascii (false,
-    false, true, true, false, true, true, false)), (String ((Ascii (false,
-    false, true, false, false, true, true, false)),
-    EmptyString)))))))))))))))))))))))))))))))))))))))))))))))))))), (String
-    ((Ascii (true, true, false, false, true, true, false, false)), (String
-    ((Ascii (true, false, true, false, false, true, true, false)), (String
-    ((Ascii (false, true, false, false, true, true, false, false)), (String
-    ((Ascii (false, false, false, true, true, true, false, false)), (String
-    ((Ascii (true, false, true, false, true, true, false, false)), (String
-    ((Ascii (true, false, true, false, false, true, true, false)), (String
-    ((Ascii (true, true, true, false, true, true, false, false)), (String
-    ((Ascii (false, false, false, true, true, true, false, false)), (String
-    ((Ascii (true, false, false, true, true, true, false, false)), (String
-    ((Ascii (true, false, true, false, false, true, true, false)), (String
-    ((Ascii (true, false, true, false, true, true, false, false)), (String
-    ((Ascii (false, false, true, false, true, true, false, false)),
-    EmptyString)))))))))))))))))))))))))) :: ((SStr ((String ((Ascii (true,
-    true, true, true, false, false, true, false)), (String ((Ascii (false,
-    true, false, false, true, true, true, false)), (String ((Ascii (true,
-    false, false, true, false, true, true, false)), (String ((Ascii (true,
-    true, true, false, false, true, true, false)), (String ((Ascii (true,
-    false, false, true, false, true, true, false)), (String ((Ascii (false,
-    true, true, true, false, true, true, false)), (String ((Ascii (true,
-    false, false, false, false, true, true, false)), (String ((Ascii (false,
-    false, true, true, false, true, true, false)), (String ((Ascii (false,
-    false, true, false, false, false, true, false)), (String ((Ascii (false,
-    true, true, false, false, false, true, false)), (String ((Ascii (true,
-    false, false, true, false, false, true, false)),
-    EmptyString)))))))))))))))))))))), (S (S (S (S (S (S (S (S
-    O)))))))))) :: ((SAlpha ((String ((Ascii (true, false, false, false,
-    false, false, true, false)), (String ((Ascii (false, false, true, false,
-    false, true, true, false)), (String ((Ascii (false, false, true, false,
-    false, true, true, false)), (String ((Ascii (true, false, true, false,
-    false, true, true, false)), (String ((Ascii (false, true, true, true,
-    false, true, true, false)), (String ((Ascii (false, false, true, false,
-    false, true, true, false)), (String ((Ascii (true, false, false, false,
-    false, true, true, false)), (String ((Ascii (true, false, false, true,
-    false, false, true, false)), (String ((Ascii (false, true, true, true,
-    false, true, true, false)), (String ((Ascii (false, true, true, false,
-    false, true, true, false)), (String ((Ascii (true, true, true, true,
-    false, true, true, false)), (String ((Ascii (false, true, false, false,
-    true, true, true, false)), (String ((Ascii (true, false, true, true,
-    false, true, true, false)), (String ((Ascii (true, false, false, false,
-    false, true, true, false)), (String ((Ascii (false, false, true, false,
-    true, true, true, false)), (String ((Ascii (true, false, false, true,
-    false, true, true, false)), (String ((Ascii (true, true, true, true,
-    false, true, true, false)), (String ((Ascii (false, true, true, true,
-    false, true, true, false)),
-    EmptyString)))))))))))))))))))))))))))))))))))), (S (S (S (S (S (S (S (S
-    (S (S (S (S (S (S (S (S (S (S (S (S (S (S (S (S (S (S (S (S (S (S (S (S
-    (S (S (S (S (S (S (S (S (S (S (S (S
-    O)))))))))))))))))))))))))))))))))))))))))))))) :: ((SStr ((String
-    ((Ascii (false, false, true, false, true, false, true, false)), (String
-    ((Ascii (false, true, false, false, true, true, true, false)), (String
-    ((Ascii (true, false, false, false, false, true, true, false)), (String
-    ((Ascii (true, true, false, false, false, true, true, false)), (String
-    ((Ascii (true, false, true, false, false, true, true, false)), (String
-    ((Ascii (false, true, true, true, false, false, true, false)), (String
-    ((Ascii (true, false, true, false, true, true, true, false)), (String
-    ((Ascii (true, false, true, true, false, true, true, false)), (String
-    ((Ascii (false, true, false, false, false, true, true, false)), (String
-    ((Ascii (true, false, true, false, false, true, true, false)), (String
-    ((Ascii (false, true, false, false, true, true, true, false)),
-    EmptyString)))))))))))))))))))))), (S (S (S (S (S (S (S (S (S (S (S (S (S
-    (S (S O))))))))))))))))) :: [])))))))); l_cuts =
-    ((mkcut O (S O) EmptyString []) :: ((mkcut (S O) (S (S (S O))) (String
-                                          ((Ascii (false, false, true, false,
-                                          true, false, true, false)), (String
-                                          ((Ascii (true, false, false, true,
-                                          true, true, true, false)), (String
-                                          ((Ascii (false, false, false,
-                                          false, true, true, true, false)),
-                                          (String ((Ascii (true, false, true,
-                                          false, false, true, true, false)),
-                                          (String ((Ascii (true, true, false,
-                                          false, false, false, true, false)),
-                                          (String ((Ascii (true, true, true,
-                                          true, false, true, true, false)),
-                                          (String ((Ascii (false, false,
-                                          true, false, false, true, true,
-                                          false)), (String ((Ascii (true,
-                                          false, true, false, false, true,
-                                          true, false)),
-                                          EmptyString)))))))))))))))) []) :: (
-    (mkcut (S (S (S O))) (S (S (S (S (S (S O)))))) (String ((Ascii (false,
-      true, false, false, true, false, true, false)), (String ((Ascii (true,
-      false, true, false, false, true, true, false)), (String ((Ascii (false,
-      false, true, false, true, true, true, false)), (String ((Ascii (true,
-      false, true, false, true, true, true, false)), (String ((Ascii (false,
-      true, false, false, true, true, true, false)), (String ((Ascii (false,
-      true, true, true, false, true, true, false)), (String ((Ascii (true,
-      true, false, false, false, false, true, false)), (String ((Ascii (true,
-      true, true, true, false, true, true, false)), (String ((Ascii (false,
-      false, true, false, false, true, true, false)), (String ((Ascii (true,
-      false, true, false, false, true, true, false)),
-      EmptyString)))))))))))))))))))) []) :: ((mkcut (S (S (S (S (S (S
-                                                O)))))) (S (S (S (S (S (S (S
-                                                (S (S (S (S (S (S (S (S (S (S
-                                                (S (S (S (S
-                                                O)))))))))))))))))))))
-                                                (String ((Ascii (true, true,
-                                                true, true, false, false,
-                                                true, false)), (String
-                                                ((Ascii (false, true, false,
-                                                false, true, true, true,
-                                                false)), (String ((Ascii
-                                                (true, false, false, true,
-                                                false, true, true, false)),
-                                                (String ((Ascii (true, true,
-                                                true, false, false, true,
-                                                true, false)), (String
-                                                ((Ascii (true, false, false,
-                                                true, false, true, true,
-                                                false)), (String ((Ascii
-                                                (false, true, true, true,
-                                                false, true, true, false)),
-                                                (String ((Ascii (true, false,
-                                                false, false, false, true,
-                                                true, false)), (String
-                                                ((Ascii (false, false, true,
-                                                true, false, true, true,
-                                                false)), (String ((Ascii
-                                                (false, false, true, false,
-                                                true, false, true, false)),
-                                                (String ((Ascii (false, true,
-                                                false, false, true, true,
-                                                true, false)), (String
-                                                ((Ascii (true, false, false,
-                                                false, false, true, true,
-                                                false)), (String ((Ascii
-                                                (true, true, false, false,
-                                                false, true, true, false)),
-                                                (String ((Ascii (true, false,
-                                                true, false, false, true,
-                                                true, false)),
-                                                EmptyString))))))))))))))))))))))))))
-                                                ((String ((Ascii (true, true,
-                                                false, false, true, true,
-                                                true, false)), (String
-                                                ((Ascii (false, false, true,
-                                                false, true, true, true,
-                                                false)), (String ((Ascii
-                                                (false, true, false, false,
-                                                true, true, true, false)),
-                                                (String ((Ascii (true, false,
-                                                false, true, false, true,
-                                                true, false)), (String
-                                                ((Ascii (false, true, true,
-                                                true, false, true, true,
-                                                false)), (String ((Ascii
-                                                (true, true, true, false,
-                                                false, true, true, false)),
-                                                (String ((Ascii (true, true,
-                                                false, false, true, true,
-                                                true, false)), (String
-                                                ((Ascii (false, true, true,
-                                                true, false, true, false,
-                                                false)), (String ((Ascii
-                                                (false, false, true, false,
-                                                true, false, true, false)),
-                                                (String ((Ascii (false, true,
-                                                false, false, true, true,
-                                                true, false)), (String
-                                                ((Ascii (true, false, false,
-                                                true, false, true, true,
-                                                false)), (String ((Ascii
-                                                (true, false, true, true,
-                                                false, true, true, false)),
-                                                (String ((Ascii (true, true,
-                                                false, false, true, false,
-                                                true, false)), (String
-                                                ((Ascii (false, false, false,
-                                                false, true, true, true,
-                                                false)), (String ((Ascii
-                                                (true, false, false, false,
-                                                false, true, true, false)),
-                                                (String ((Ascii (true, true,
-                                                false, false, false, true,
-                                                true, false)), (String
-                                                ((Ascii (true, false, true,
-                                                false, false, true, true,
-                                                false)),
-                                                EmptyString)))))))))))))))))))))))))))))))))) :: [])) :: (
-    (mkcut (S (S (S (S (S (S (S (S (S (S (S (S (S (S (S (S (S (S (S (S (S
-      O))))))))))))))))))))) (S (S (S (S (S (S (S (S (S (S (S (S (S (S (S (S
-      (S (S (S (S (S (S (S (S (S (S (S O))))))))))))))))))))))))))) (String
-      ((Ascii (false, false, true, false, false, false, true, false)),
-      (String ((Ascii (true, false, false, false, false, true, true, false)),
-      (String ((Ascii (false, false, true, false, true, true, true, false)),
-      (String ((Ascii (true, false, true, false, false, true, true, false)),
-      (String ((Ascii (true, true, true, true, false, false, true, false)),
-      (String ((Ascii (false, true, true, false, false, true, true, false)),
-      (String ((Ascii (false, false, true, false, false, false, true,
-      false)), (String ((Ascii (true, false, true, false, false, true, true,
-      false)), (String ((Ascii (true, false, false, false, false, true, true,
-      false)), (String ((Ascii (false, false, true, false, true, true, true,
-      false)), (String ((Ascii (false, false, false, true, false, true, true,
-      false)), EmptyString)))))))))))))))))))))) ((String ((Ascii (false,
-      true, true, false, true, true, true, false)), (String ((Ascii (true,
-      false, false, false, false, true, true, false)), (String ((Ascii
-      (false, false, true, true, false, true, true, false)), (String ((Ascii
-      (true, false, false, true, false, true, true, false)), (String ((Ascii
-      (false, false, true, false, false, true, true, false)), (String ((Ascii
-      (true, false, false, false, false, true, true, false)), (String ((Ascii
-      (false, false, true, false, true, true, true, false)), (String ((Ascii
-      (true, false, true, false, false, true, true, false)), (String ((Ascii
-      (true, true, false, false, true, false, true, false)), (String ((Ascii
-      (true, false, false, true, false, true, true, false)), (String ((Ascii
-      (true, false, true, true, false, true, true, false)), (String ((Ascii
-      (false, false, false, false, true, true, true, false)), (String ((Ascii
-      (false, false, true, true, false, true, true, false)), (String ((Ascii
-      (true, false, true, false, false, true, true, false)), (String ((Ascii
-      (false, false, true, false, false, false, true, false)), (String
-      ((Ascii (true, false, false, false, false, true, true, false)), (String
-      ((Ascii (false, false, true, false, true, true, true, false)), (String
-      ((Ascii (true, false, true, false, false, true, true, false)),
-      EmptyString)))))))))))))))))))))))))))))))))))) :: [])) :: ((mkcut (S
-                                                                    (S (S (S
-                                                                    (S (S (S
-                                                                    (S (S (S
-                                                                    (S (S (S
-                                                                    (S (S (S
-                                                                    (S (S (S
-                                                                    (S (S (S
-                                                                    (S (S (S
-                                                                    (S (S
-                                                                    O)))))))))))))))))))))))))))
-                                                                    (S (S (S
-                                                                    (S (S (S
-                                                                    (S (S (S
-                                                                    (S (S (S
-                                                                    (S (S (S
-                                                                    (S (S (S
-                                                                    (S (S (S
-                                                                    (S (S (S
-                                                                    (S (S (S
-                                                                    (S (S (S
-                                                                    (S (S (S
-                                                                    (S (S
-                                                                    O)))))))))))))))))))))))))))))))))))
-                                                                    (String
-                                                                    ((Ascii
-                                                                    (true,
-                                                                    true,
-                                                                    true,
-                                                                    true,
-                                                                    false,
-                                                                    false,
-                                                                    true,
-                                                                    false)),
-                                                                    (String
-                                                                    ((Ascii
-                                                                    (false,
-                                                                    true,
-                                                                    false,
-                                                                    false,
-                                                                    true,
-                                                                    true,
-                                                                    true,
-                                                                    false)),
-                                                                    (String
-                                                                    ((Ascii
-                                                                    (true,
-                                                                    false,
-                                                                    false,
-                                                                    true,
-                                                                    false,
-                                                                    true,
-                                                                    true,
-                                                                    false)),
-                                                                    (String
-                                                                    ((Ascii
-                                                                    (true,
-                                                                    true,
-                                                                    true,
-                                                                    false,
-                                                                    false,
-                                                                    true,
-                                                                    true,
-                                                                    false)),
-                                                                    (String
-                                                                    ((Ascii
-                                                                    (true,
-                                                                    false,
-                                                                    false,
-                                                                    true,
-                                                                    false,
-                                                                    true,
-                                                                    true,
-                                                                    false)),
-                                                                    (String
-                                                                    ((Ascii
-                                                                    (false,
-                                                                    true,
-                                                                    true,
-                                                                    true,
-                                                                    false,
-                                                                    true,
-                                                                    true,
-                                                                    false)),
-                                                                    (String
-                                                                    ((Ascii
-                                                                    (true,
-                                                                    false,
-                                                                    false,
-                                                                    false,
-                                                                    false,
-                                                                    true,
-                                                                    true,
-                                                                    false)),
-                                                                    (String
-                                                                    ((Ascii
-                                                                    (false,
-                                                                    false,
-                                                                    true,
-                                                                    true,
-                                                                    false,
-                                                                    true,
-                                                                    true,
-                                                                    false)),
-                                                                    (String
-                                                                    ((Ascii
-                                                                    (false,
-                                                                    false,
-                                                                    true,
-                                                                    false,
-                                                                    false,
-                                                                    false,
-                                                                    true,
-                                                                    false)),
-                                                                    (String
-                                                                    ((Ascii
-                                                                    (false,
-                                                                    true,
-                                                                    true,
-                                                                    false,
-                                                                    false,
-                                                                    false,
-                                                                    true,
-                                                                    false)),
-                                                                    (String
-                                                                    ((Ascii
-                                                                    (true,
-                                                                    false,
-                                                                    false,
-                                                                    true,
-                                                                    false,
-                                                                    false,
-                                                                    true,
-                                                                    false)),
-                                                                    EmptyString))))))))))))))))))))))
-                                                                    ((String
-                                                                    ((Ascii
-                                                                    (false,
-                                                                    false,
-                                                                    false,
-                                                                    false,
-                                                                    true,
-                                                                    true,
-                                                                    true,
-                                                                    false)),
-                                                                    (String
-                                                                    ((Ascii
-                                                                    (true,
-                                                                    false,
-                                                                    false,
-                                                                    false,
-                                                                    false,
-                                                                    true,
-                                                                    true,
-                                                                    false)),
-                                                                    (String
-                                                                    ((Ascii
-                                                                    (false,
-                                                                    true,
-                                                                    false,
-                                                                    false,
-                                                                    true,
-                                                                    true,
-                                                                    true,
-                                                                    false)),
-                                                                    (String
-                                                                    ((Ascii
-                                                                    (true,
-                                                                    true,
-                                                                    false,
-                                                                    false,
-                                                                    true,
-                                                                    true,
-                                                                    true,
-                                                                    false)),
-                                                                    (String
-                                                                    ((Ascii
-                                                                    (true,
-                                                                    false,
-                                                                    true,
-                                                                    false,
-                                                                    false,
-                                                                    true,
-                                                                    true,
-                                                                    false)),
-                                                                    (String
-                                                                    ((Ascii
-                                                                    (true,
-                                                                    true,
-                                                                    false,
-                                                                    false,
-                                                                    true,
-                                                                    false,
-                                                                    true,
-                                                                    false)),
-                                                                    (String
-                                                                    ((Ascii
-                                                                    (false,
-                                                                    false,
-                                                                    true,
-                                                                    false,
-                                                                    true,
-                                                                    true,
-                                                                    true,
-                                                                    false)),
-                                                                    (String
-                                                                    ((Ascii
-                                                                    (false,
-                                                                    true,
-                                                                    false,
-                                                                    false,
-                                                                    true,
-                                                                    true,
-                                                                    true,
-                                                                    false)),
-                                                                    (String
-                                                                    ((Ascii
-                                                                    (true,
-                                                                    false,
-                                                                    false,
-                                                                    true,
-                                                                    false,
-                                                                    true,
-                                                                    true,
-                                                                    false)),
-                                                                    (String
-                                                                    ((Ascii
-                                                                    (false,
-                                                                    true,
-                                                                    true,
-                                                                    true,
-                                                                    false,
-                                                                    true,
-                                                                    true,
-                                                                    false)),
-                                                                    (String
-                                                                    ((Ascii
-                                                                    (true,
-                                                                    true,
-                                                                    true,
-                                                                    false,
-                                                                    false,
-                                                                    true,
-                                                                    true,
-                                                                    false)),
-                                                                    (String
-                                                                    ((Ascii
-                                                                    (false,
-                                                                    true,
-                                                                    true,
-                                                                    false,
-                                                                    false,
-                                                                    false,
-                                                                    true,
-                                                                    false)),
-                                                                    (String
-                                                                    ((Ascii
-                                                                    (true,
-                                                                    false,
-                                                                    false,
-                                                                    true,
-                                                                    false,
-                                                                    true,
-                                                                    true,
-                                                                    false)),
-                                                                    (String
-                                                                    ((Ascii
-                                                                    (true,
-                                                                    false,
-                                                                    true,
-                                                                    false,
-                                                                    false,
-                                                                    true,
-                                                                    true,
-                                                                    false)),
-                                                                    (String
-                                                                    ((Ascii
-                                                                    (false,
-                                                                    false,
-                                                                    true,
-                                                                    true,
-                                                                    false,
-                                                                    true,
-                                                                    true,
-                                                                    false)),
-                                                                    (String
-                                                                    ((Ascii
-                                                                    (false,
-                                                                    false,
-                                                                    true,
-                                                                    false,
-                                                                    false,
-                                                                    true,
-                                                                    true,
-                                                                    false)),
-                                                                    EmptyString)))))))))))))))))))))))))))))))) :: [])) :: (
-    (mkcut (S (S (S (S (S (S (S (S (S (S (S (S (S (S (S (S (S (S (S (S (S (S
-      (S (S (S (S (S (S (S (S (S (S (S (S (S
-      O))))))))))))))))))))))))))))))))))) (S (S (S (S (S (S (S (S (S (S (S
-      (S (S (S (S (S (S (S (S (S (S (S (S (S (S (S (S (S (S (S (S (S (S (S (S
-      (S (S (S (S (S (S (S (S (S (S (S (S (S (S (S (S (S (S (S (S (S (S (S (S
-      (S (S (S (S (S (S (S (S (S (S (S (S (S (S (S (S (S (S (S (S
-      O)))))))))))))))))))))))))))))))))))))))))))))))))))))))))))))))))))))))))))))))
-      (String ((Ascii (true, false, false, false, false, false, true,
-      false)), (String ((Ascii (false, false, true, false, false, true, true,
-      false)), (String ((Ascii (false, false, true, false, false, true, true,
-      false)), (String ((Ascii (true, false, true, false, false, true, true,
-      false)), (String ((Ascii (false, true, true, true, false, true, true,
-      false)), (String ((Ascii (false, false, true, false, false, true, true,
-      false)), (String ((Ascii (true, false, false, false, false, true, true,
-      false)), (String ((Ascii (true, false, false, true, false, false, true,
-      false)), (String ((Ascii (false, true, true, true, false, true, true,
-      false)), (String ((Ascii (false, true, true, false, false, true, true,
-      false)), (String ((Ascii (true, true, true, true, false, true, true,
-      false)), (String ((Ascii (false, true, false, false, true, true, true,
-      false)), (String ((Ascii (true, false, true, true, false, true, true,
-      false)), (String ((Ascii (true, false, false, false, false, true, true,
-      false)), (String ((Ascii (false, false, true, false, true, true, true,
-      false)), (String ((Ascii (true, false, false, true, false, true, true,
-      false)), (String ((Ascii (true, true, true, true, false, true, true,
-      false)), (String ((Ascii (false, true, true, true, false, true, true,
-      false)), EmptyString)))))))))))))))))))))))))))))))))))) []) :: (
-    (mkcut (S (S (S (S (S (S (S (S (S (S (S (S (S (S (S (S (S (S (S (S (S (S
-      (S (S (S (S (S (S (S (S (S (S (S (S (S (S (S (S (S (S (S (S (S (S (S (S
-      (S (S (S (S (S (S (S (S (S (S (S (S (S (S (S (S (S (S (S (S (S (S (S (S
-      (S (S (S (S (S (S (S (S (S
-      O)))))))))))))))))))))))))))))))))))))))))))))))))))))))))))))))))))))))))))))))
-      (S (S (S (S (S (S (S (S (S (S (S (S (S (S (S (S (S (S (S (S (S (S (S (S
-      (S (S (S (S (S (S (S (S (S (S (S (S (S (S (S (S (S (S (S (S (S (S (S (S
-      (S (S (S (S (S (S (S (S (S (S (S (S (S (S (S (S (S (S (S (S (S (S (S (S
-      (S (S (S (S (S (S (S (S (S (S (S (S (S (S (S (S (S (S (S (S (S (S
-      O))))))))))))))))))))))))))))))))))))))))))))))))))))))))))))))))))))))))))))))))))))))))))))))
-      (String ((Ascii (false, false, true, false, true, false, true, false)),
-      (String ((Ascii (false, true, false, false, true, true, true, false)),
-      (String ((Ascii (true, false, false, false, false, true, true, false)),
-      (String ((Ascii (true, true, false, false, false, true, true, false)),
-      (String ((Ascii (true, false, true, false, false, true, true, false)),
-      (String ((Ascii (false, true, true, true, false, false, true, false)),
-      (String ((Ascii (true, false, true, false, true, true, true, false)),
-      (String ((Ascii (true, false, true, true, false, true, true, false)),
-      (String ((Ascii (false, true, false, false, false, true, true, false)),
-      (String ((Ascii (true, false, true, false, false, true, true, false)),
-      (String ((Ascii (false, true, false, false, true, true, true, false)),
-      EmptyString)))))))))))))))))))))) ((String ((Ascii (true, true, false,
-      false, true, true, true, false)), (String ((Ascii (false, false, true,
-      false, true, true, true, false)), (String ((Ascii (false, true, false,
-      false, true, true, true, false)), (String ((Ascii (true, false, false,
-      true, false, true, true, false)), (String ((Ascii (false, true, true,
-      true, false, true, true, false)), (String ((Ascii (true, true, true,
-      false, false, true, true, false)), (String ((Ascii (true, true, false,
-      false, true, true, true, false)), (String ((Ascii (false, true, true,
-      true, false, true, false, false)), (String ((Ascii (false, false, true,
-      false, true, false, true, false)), (String ((Ascii (false, true, false,
-      false, true, true, true, false)), (String ((Ascii (true, false, false,
-      true, false, true, true, false)), (String ((Ascii (true, false, true,
-      true, false, true, true, false)), (String ((Ascii (true, true, false,
-      false, true, false, true, false)), (String ((Ascii (false, false,
-      false, false, true, true, true, false)), (String ((Ascii (true, false,
-      false, false, false, true, true, false)), (String ((Ascii (true, true,
-      false, false, false, true, true, false)), (String ((Ascii (true, false,
-      true, false, false, true, true, false)),
-      EmptyString)))))))))))))))))))))))))))))))))) :: [])) :: [])))))))) }
-
-(** val l_Addenda99Contested : layout **)
-
-let l_Addenda99Contested =
-  { l_name = (String ((Ascii (true, false, false, false, false, false, true,
-    false)), (String ((Ascii (false, false, true, false, false, true, true,
-    false)), (String ((Ascii (false, false, true, false, false, true, true,
-    false)), (String ((Ascii (true, false, true, false, false, true, true,
-    false)), (String ((Ascii (false, true, true, true, false, true, true,
-    false)), (String ((Ascii (false, false, true, false, false, true, true,
-    false)), (String ((Ascii (true, false, false, false, false, true, true,
-    false)), (String ((Ascii (true, false, false, true, true, true, false,
-    false)), (String ((Ascii (true, false, false, true, true, true, false,
-    false)), (String ((Ascii (true, true, false, false, false, false, true,
-    false)), (String ((Ascii (true, true, true, true, false, true, true,
-    false)), (String ((Ascii (false, true, true, true, false, true, true,
-    false)), (String ((Ascii (false, false, true, false, true, true, true,
-    false)), (String ((Ascii (true, false, true, false, false, true, true,
-    false)), (String ((Ascii (true, true, false, false, true, true, true,
-    false)), (String ((Ascii (false, false, true, false, true, true, true,
-    false)), (String ((Ascii (true, false, true, false, false, true, true,
-    false)), (String ((Ascii (false, false, true, false, false, true, true,
-    false)), EmptyString)))))))))))))))))))))))))))))))))))); l_ix = IRune;
-    l_segs = ((SLit ((Npos (XI (XI (XI (XO (XI XH)))))) :: [])) :: ((SRaw
-    (String ((Ascii (false, false, true, false, true, false, true, false)),
-    (String ((Ascii (true, false, false, true, true, true, true, false)),
-    (String ((Ascii (false, false, false, false, true, true, true, false)),
-    (String ((Ascii (true, false, true, false, false, true, true, false)),
-    (String ((Ascii (true, true, false, false, false, false, true, false)),
-    (String ((Ascii (true, true, true, true, false, true, true, false)),
-    (String ((Ascii (false, false, true, false, false, true, true, false)),
-    (String ((Ascii (true, false, true, false, false, true, true, false)),
-    EmptyString))))))))))))))))) :: ((SStr ((String ((Ascii (true, true,
-    false, false, false, false, true, false)), (String ((Ascii (true, true,
-    true, true, false, true, true, false)), (String ((Ascii (false, true,
-    true, true, false, true, true, false)), (String ((Ascii (false, false,
-    true, false, true, true, true, false)), (String ((Ascii (true, false,
-    true, false, false, true, true, false)), (String ((Ascii (true, true,
-    false, false, true, true, true, false)), (String ((Ascii (false, false,
-    true, false, true, true, true, false)), (String ((Ascii (true, false,
-    true, false, false, true, true, false)), (String ((Ascii (false, false,
-    true, false, false, true, true, false)), (String ((Ascii (false, true,
-    false, false, true, false, true, false)), (String ((Ascii (true, false,
-    true, false, false, true, true, false)), (String ((Ascii (false, false,
-    true, false, true, true, true, false)), (String ((Ascii (true, false,
-    true, false, true, true, true, false)), (String ((Ascii (false, true,
-    false, false, true, true, true, false)), (String ((Ascii (false, true,
-    true, true, false, true, true, false)), (String ((Ascii (true, true,
-    false, false, false, false, true, false)), (String ((Ascii (true, true,
-    true, true, false, true, true, false)), (String ((Ascii (false, false,
-    true, false, false, true, true, false)), (String ((Ascii (true, false,
-    true, false, false, true, true, false)),
-    EmptyString)))))))))))))))))))))))))))))))))))))), (S (S (S
-    O))))) :: ((SStr ((String ((Ascii (true, true, true, true, false, false,
-    true, false)), (String ((Ascii (false, true, false, false, true, true,
-    true, false)), (String ((Ascii (true, false, false, true, false, true,
-    true, false)), (String ((Ascii (true, true, true, false, false, true,
-    true, false)), (String ((Ascii (true, false, false, true, false, true,
-    true, false)), (String ((Ascii (false, true, true, true, false, true,
-    true, false)), (String ((Ascii (true, false, false, false, false, true,
-    true, false)), (String ((Ascii (false, false, true, true, false, true,
-    true, false)), (String ((Ascii (true, false, true, false, false, false,
-    true, false)), (String ((Ascii (false, true, true, true, false, true,
-    true, false)), (String ((Ascii (false, false, true, false, true, true,
-    true, false)), (String ((Ascii (false, true, false, false, true, true,
-    true, false)), (String ((Ascii (true, false, false, true, true, true,
-    true, false)), (String ((Ascii (false, false, true, false, true, false,
-    true, false)), (String ((Ascii (false, true, false, false, true, true,
-    true, false)), (String ((Ascii (true, false, false, false, false, true,
-    true, false)), (String ((Ascii (true, true, false, false, false, true,
-    true, false)), (String ((Ascii (true, false, true, false, false, true,
-    true, false)), (String ((Ascii (false, true, true, true, false, false,
-    true, false)), (String ((Ascii (true, false, true, false, true, true,
-    true, false)), (String ((Ascii (true, false, true, true, false, true,
-    true, false)), (String ((Ascii (false, true, false, false, false, true,
-    true, false)), (String ((Ascii (true, false, true, false, false, true,
-    true, false)), (String ((Ascii (false, true, false, false, true, true,
-    true, false)),
-    EmptyString)))))))))))))))))))))))))))))))))))))))))))))))), (S (S (S (S
-    (S (S (S (S (S (S (S (S (S (S (S O))))))))))))))))) :: ((SStr ((String
-    ((Ascii (false, false, true, false, false, false, true, false)), (String
-    ((Ascii (true, false, false, false, false, true, true, false)), (String
-    ((Ascii (false, false, true, false, true, true, true, false)), (String
-    ((Ascii (true, false, true, false, false, true, true, false)), (String
-    ((Ascii (true, true, true, true, false, false, true, false)), (String
-    ((Ascii (false, true, false, false, true, true, true, false)), (String
-    ((Ascii (true, false, false, true, false, true, true, false)), (String
-    ((Ascii (true, true, true, false, false, true, true, false)), (String
-    ((Ascii (true, false, false, true, false, true, true, false)), (String
-    ((Ascii (false, true, true, true, false, true, true, false)), (String
-    ((Ascii (true, false, false, false, false, true, true, false)), (String
-    ((Ascii (false, false, true, true, false, true, true, false)), (String
-    ((Ascii (true, false, true, false, false, false, true, false)), (String
-    ((Ascii (false, true, true, true, false, true, true, false)), (String
-    ((Ascii (false, false, true, false, true, true, true, false)), (String
-    ((Ascii (false, true, false, false, true, true, true, false)), (String
-    ((Ascii (true, false, false, true, true, true, true, false)), (String
-    ((Ascii (false, true, false, false, true, false, true, false)), (String
-    ((Ascii (true, false, true, false, false, true, true, false)), (String
-    ((Ascii (false, false, true, false, true, true, true, false)), (String
-    ((Ascii (true, false, true, false, true, true, true, false)), (String
-    ((Ascii (false, true, false, false, true, true, true, false)), (String
-    ((Ascii (false, true, true, true, false, true, true, false)), (String
-    ((Ascii (true, false, true, false, false, true, true, false)), (String
-    ((Ascii (false, false, true, false, false, true, true, false)),
-    EmptyString)))))))))))))))))))))))))))))))))))))))))))))))))), (S (S (S
-    (S (S (S O)))))))) :: ((SStr ((String ((Ascii (true, true, true, true,
-    false, false, true, false)), (String ((Ascii (false, true, false, false,
-    true, true, true, false)), (String ((Ascii (true, false, false, true,
-    false, true, true, false)), (String ((Ascii (true, true, true, false,
-    false, true, true, false)), (String ((Ascii (true, false, false, true,
-    false, true, true, false)), (String ((Ascii (false, true, true, true,
-    false, true, true, false)), (String ((Ascii (true, false, false, false,
-    false, true, true, false)), (String ((Ascii (false, false, true, true,
-    false, true, true, false)), (String ((Ascii (false, true, false, false,
-    true, false, true, false)), (String ((Ascii (true, false, true, false,
-    false, true, true, false)), (String ((Ascii (true, true, false, false,
-    false, true, true, false)), (String ((Ascii (true, false, true, false,
-    false, true, true, false)), (String ((Ascii (true, false, false, true,
-    false, true, true, false)), (String ((Ascii (false, true, true, false,
-    true, true, true, false)), (String ((Ascii (true, false, false, true,
-    false, true, true, false)), (String ((Ascii (false, true, true, true,
-    false, true, true, false)), (String ((Ascii (true, true, true, false,
-    false, true, true, false)), (String ((Ascii (false, false, true, false,
-    false, false, true, false)), (String ((Ascii (false, true, true, false,
-    false, false, true, false)), (String ((Ascii (true, false, false, true,
-    false, false, true, false)), (String ((Ascii (true, false, false, true,
-    false, false, true, false)), (String ((Ascii (false, false, true, false,
-    false, true, true, false)), (String ((Ascii (true, false, true, false,
-    false, true, true, false)), (String ((Ascii (false, true, true, true,
-    false, true, true, false)), (String ((Ascii (false, false, true, false,
-    true, true, true, false)), (String ((Ascii (true, false, false, true,
-    false, true, true, false)), (String ((Ascii (false, true, true, false,
-    false, true, true, false)), (String ((Ascii (true, false, false, true,
-    false, true, true, false)), (String ((Ascii (true, true, false, false,
-    false, true, true, false)), (String ((Ascii (true, false, false, false,
-    false, true, true, false)), (String ((Ascii (false, false, true, false,
-    true, true, true, false)), (String ((Ascii (true, false, false, true,
-    false, true, true, false)), (String ((Ascii (true, true, true, true,
-    false, true, true, false)), (String ((Ascii (false, true, true, true,
-    false, true, true, false)),
-    EmptyString)))))))))))))))))))))))))))))))))))))))))))))))))))))))))))))))))))),
-    (S (S (S (S (S (S (S (S O)))))))))) :: ((SStr ((String ((Ascii (true,
-    true, true, true, false, false, true, false)), (String ((Ascii (false,
-    true, false, false, true, true, true, false)), (String ((Ascii (true,
-    false, false, true, false, true, true, false)), (String ((Ascii (true,
-    true, true, false, false, true, true, false)), (String ((Ascii (true,
-    false, false, true, false, true, true, false)), (String ((Ascii (false,
-    true, true, true, false, true, true, false)), (String ((Ascii (true,
-    false, false, false, false, true, true, false)), (String ((Ascii (false,
-    false, true, true, false, true, true, false)), (String ((Ascii (true,
-    true, false, false, true, false, true, false)), (String ((Ascii (true,
-    false, true, false, false, true, true, false)), (String ((Ascii (false,
-    false, true, false, true, true, true, false)), (String ((Ascii (false,
-    false, true, false, true, true, true, false)), (String ((Ascii (false,
-    false, true, true, false, true, true, false)), (String ((Ascii (true,
-    false, true, false, false, true, true, false)), (String ((Ascii (true,
-    false, true, true, false, true, true, false)), (String ((Ascii (true,
-    false, true, false, false, true, true, false)), (String ((Ascii (false,
-    true, true, true, false, true, true, false)), (String ((Ascii (false,
-    false, true, false, true, true, true, false)), (String ((Ascii (false,
-    false, true, false, false, false, true, false)), (String ((Ascii (true,
-    false, false, false, false, true, true, false)), (String ((Ascii (false,
-    false, true, false, true, true, true, false)), (String ((Ascii (true,
-    false, true, false, false, true, true, false)),
-    EmptyString)))))))))))))))))))))))))))))))))))))))))))), (S (S (S
-    O))))) :: ((SStr ((String ((Ascii (false, true, false, false, true,
-    false, true, false)), (String ((Ascii (true, false, true, false, false,
-    true, true, false)), (String ((Ascii (false, false, true, false, true,
-    true, true, false)), (String ((Ascii (true, false, true, false, true,
-    true, true, false)), (String ((Ascii (false, true, false, false, true,
-    true, true, false)), (String ((Ascii (false, true, true, true, false,
-    true, true, false)), (String ((Ascii (false, false, true, false, true,
-    false, true, false)), (String ((Ascii (false, true, false, false, true,
-    true, true, false)), (String ((Ascii (true, false, false, false, false,
-    true, true, false)), (String ((Ascii (true, true, false, false, false,
-    true, true, false)), (String ((Ascii (true, false, true, false, false,
-    true, true, false)), (String ((Ascii (false, true, true, true, false,
-    false, true, false)), (String ((Ascii (true, false, true, false, true,
-    true, true, false)), (String ((Ascii (true, false, true, true, false,
-    true, true, false)), (String ((Ascii (false, true, false, false, false,
-    true, true, false)), (String ((Ascii (true, false, true, false, false,
-    true, true, false)), (String ((Ascii (false, true, false, false, true,
-    true, true, false)), EmptyString)))))))))))))))))))))))))))))))))), (S (S
-    (S (S (S (S (S (S (S (S (S (S (S (S (S O))))))))))))))))) :: ((SStr
-    ((String ((Ascii (false, true, false, false, true, false, true, false)),
-    (String ((Ascii (true, false, true, false, false, true, true, false)),
-    (String ((Ascii (false, false, true, false, true, true, true, false)),
-    (String ((Ascii (true, false, true, false, true, true, true, false)),
-    (String ((Ascii (false, true, false, false, true, true, true, false)),
-    (String ((Ascii (false, true, true, true, false, true, true, false)),
-    (String ((Ascii (true, true, false, false, true, false, true, false)),
-    (String ((Ascii (true, false, true, false, false, true, true, false)),
-    (String ((Ascii (false, false, true, false, true, true, true, false)),
-    (String ((Ascii (false, false, true, false, true, true, true, false)),
-    (String ((Ascii (false, false, true, true, false, true, true, false)),
-    (String ((Ascii (true, false, true, false, false, true, true, false)),
-    (String ((Ascii (true, false, true, true, false, true, true, false)),
-    (String ((Ascii (true, false, true, false, false, true, true, false)),
-    (String ((Ascii (false, true, true, true, false, true, true, false)),
-    (String ((Ascii (false, false, true, false, true, true, true, false)),
-    (String ((Ascii (false, false, true, false, false, false, true, false)),
-    (String ((Ascii (true, false, false, false, false, true, true, false)),
-    (String ((Ascii (false, false, true, false, true, true, true, false)),
-    (String ((Ascii (true, false, true, false, false, true, true, false)),
-    EmptyString)))))))))))))))))))))))))))))))))))))))), (S (S (S
-    O))))) :: ((SStr ((String ((Ascii (false, true, false, false, true,
-    false, true, false)), (String ((Ascii (true, false, true, false, false,
-    true, true, false)), (String ((Ascii (false, false, true, false, true,
-    true, true, false)), (String ((Ascii (true, false, true, false, true,
-    true, true, false)), (String ((Ascii (false, true, false, false, true,
-    true, true, false)), (String ((Ascii (false, true, true, true, false,
-    true, true, false)), (String ((Ascii (false, true, false, false, true,
-    false, true, false)), (String ((Ascii (true, false, true, false, false,
-    true, true, false)), (String ((Ascii (true, false, false, false, false,
-    true, true, false)), (String ((Ascii (true, true, false, false, true,
-    true, true, false)), (String ((Ascii (true, true, true, true, false,
-    true, true, false)), (String ((Ascii (false, true, true, true, false,
-    true, true, false)), (String ((Ascii (true, true, false, false, false,
-    false, true, false)), (String ((Ascii (true, true, true, true, false,
-    true, true, false)), (String ((Ascii (false, false, true, false, false,
-    true, true, false)), (String ((Ascii (true, false, true, false, false,
-    true, true, false)), EmptyString)))))))))))))))))))))))))))))))), (S (S
-    O)))) :: ((SStr ((String ((Ascii (false, false, true, false, false,
-    false, true, false)), (String ((Ascii (true, false, false, true, false,
-    true, true, false)), (String ((Ascii (true, true, false, false, true,
-    true, true, false)), (String ((Ascii (false, false, false, true, false,
-    true, true, false)), (String ((Ascii (true, true, true, true, false,
-    true, true, false)), (String ((Ascii (false, true, true, true, false,
-    true, true, false)), (String ((Ascii (true, true, true, true, false,
-    true, true, false)), (String ((Ascii (false, true, false, false, true,
-    true, true, false)), (String ((Ascii (true, false, true, false, false,
-    true, true, false)), (String ((Ascii (false, false, true, false, false,
-    true, true, false)), (String ((Ascii (false, true, false, false, true,
-    false, true, false)), (String ((Ascii (true, false, true, false, false,
-    true, true, false)), (String ((Ascii (false, false, true, false, true,
-    true, true, false)), (String ((Ascii (true, false, true, false, true,
-    true, true, false)), (String ((Ascii (false, true, false, false, true,
-    true, true, false)), (String ((Ascii (false, true, true, true, false,
-    true, true, false)), (String ((Ascii (false, false, true, false, true,
-    false, true, false)), (String ((Ascii (false, true, false, false, true,
-    true, true, false)), (String ((Ascii (true, false, false, false, false,
-    true, true, false)), (String ((Ascii (true, true, false, false, false,
-    true, true, false)), (String ((Ascii (true, false, true, false, false,
-    true, true, false)), (String ((Ascii (false, true, true, true, false,
-    false, true, false)), (String ((Ascii (true, false, true, false, true,
-    true, true, false)), (String ((Ascii (true, false, true, true, false,
-    true, true, false)), (String ((Ascii (false, true, false, false, false,
-    true, true, false)), (String ((Ascii (true, false, true, false, false,
-    true, true, false)), (String ((Ascii (false, true, false, false, true,
-    true, true, false)),
-    EmptyString)))))))))))))))))))))))))))))))))))))))))))))))))))))), (S (S
-    (S (S (S (S (S (S (S (S (S (S (S (S (S O))))))))))))))))) :: ((SStr
-    ((String ((Ascii (false, false, true, false, false, false, true, false)),
-    (String ((Ascii (true, false, false, true, false, true, true, false)),
-    (String ((Ascii (true, true, false, false, true, true, true, false)),
-    (String ((Ascii (false, false, false, true, false, true, true, false)),
-    (String ((Ascii (true, true, true, true, false, true, true, false)),
-    (String ((Ascii (false, true, true, true, false, true, true, false)),
-    (String ((Ascii (true, true, true, true, false, true, true, false)),
-    (String ((Ascii (false, true, false, false, true, true, true, false)),
-    (String ((Ascii (true, false, true, false, false, true, true, false)),
-    (String ((Ascii (false, false, true, false, false, true, true, false)),
-    (String ((Ascii (false, true, false, false, true, false, true, false)),
-    (String ((Ascii (true, false, true, false, false, true, true, false)),
-    (String ((Ascii (false, false, true, false, true, true, true, false)),
-    (String ((Ascii (true, false, true, false, true, true, true, false)),
-    (String ((Ascii (false, true, false, false, true, true, true, false)),
-    (String ((Ascii (false, true, true, true, false, true, true, false)),
-    (String ((Ascii (true, true, false, false, true, false, true, false)),
-    (String ((Ascii (true, false, true, false, false, true, true, false)),
-    (String ((Ascii (false, false, true, false, true, true, true, false)),
-    (String ((Ascii (false, false, true, false, true, true, true, false)),
-    (String ((Ascii (false, false, true, true, false, true, true, false)),
-    (String ((Ascii (true, false, true, false, false, true, true, false)),
-    (String ((Ascii (true, false, true, true, false, true, true, false)),
-    (String ((Ascii (true, false, true, false, false, true, true, false)),
-    (String ((Ascii (false, true, true, true, false, true, true, false)),
-    (String ((Ascii (false, false, true, false, true, true, true, false)),
-    (String ((Ascii (false, false, true, false, false, false, true, false)),
-    (String ((Ascii (true, false, false, false, false, true, true, false)),
-    (String ((Ascii (false, false, true, false, true, true, true, false)),
-    (String ((Ascii (true, false, true, false, false, true, true, false)),
-    EmptyString)))))))))))))))))))))))))))))))))))))))))))))))))))))))))))),
-    (S (S (S O))))) :: ((SStr ((String ((Ascii (false, false, true, false,
-    false, false, true, false)), (String ((Ascii (true, false, false, true,
-    false, true, true, false)), (String ((Ascii (true, true, false, false,
-    true, true, true, false)), (String ((Ascii (false, false, false, true,
-    false, true, true, false)), (String ((Ascii (true, true, true, true,
-    false, true, true, false)), (String ((Ascii (false, true, true, true,
-    false, true, true, false)), (String ((Ascii (true, true, true, true,
-    false, true, true, false)), (String ((Ascii (false, true, false, false,
-    true, true, true, false)), (String ((Ascii (true, false, true, false,
-    false, true, true, false)), (String ((Ascii (false, false, true, false,
-    false, true, true, false)), (String ((Ascii (false, true, false, false,
-    true, false, true, false)), (String ((Ascii (true, false, true, false,
-    false, true, true, false)), (String ((Ascii (false, false, true, false,
-    true, true, true, false)), (String ((Ascii (true, false, true, false,
-    true, true, true, false)), (String ((Ascii (false, true, false, false,
-    true, true, true, false)), (String ((Ascii (false, true, true, true,
-    false, true, true, false)), (String ((Ascii (false, true, false, false,
-    true, false, true, false)), (String ((Ascii (true, false, true, false,
-    false, true, true, false)), (String ((Ascii (true, false, false, false,
-    false, true, true, false)), (String ((Ascii (true, true, false, false,
-    true, true, true, false)), (String ((Ascii (true, true, true, true,
-    false, true, true, false)), (String ((Ascii (false, true, true, true,
-    false, true, true, false)), (String ((Ascii (true, true, false, false,
-    false, false, true, false)), (String ((Ascii (true, true, true, true,
-    false, true, true, false)), (String ((Ascii (false, false, true, false,
-    false, true, true, false)), (String ((Ascii (true, false, true, false,
-    false, true, true, false)),
-    EmptyString)))))))))))))))))))))))))))))))))))))))))))))))))))), (S (S
-    O)))) :: ((SLit ((Npos (XO (XO (XO (XO (XO XH)))))) :: [])) :: ((SStr
-    ((String ((Ascii (false, false, true, false, true, false, true, false)),
-    (String ((Ascii (false, true, false, false, true, true, true, false)),
-    (String ((Ascii (true, false, false, false, false, true, true, false)),
-    (String ((Ascii (true, true, false, false, false, true, true, false)),
-    (String ((Ascii (true, false, true, false, false, true, true, false)),
-    (String ((Ascii (false, true, true, true, false, false, true, false)),
-    (String ((Ascii (true, false, true, false, true, true, true, false)),
-    (String ((Ascii (true, false, true, true, false, true, true, false)),
-    (String ((Ascii (false, true, false, false, false, true, true, false)),
-    (String ((Ascii (true, false, true, false, false, true, true, false)),
-    (String ((Ascii (false, true, false, false, true, true, true, false)),
-    EmptyString)))))))))))))))))))))), (S (S (S (S (S (S (S (S (S (S (S (S (S
-    (S (S O))))))))))))))))) :: []))))))))))))))); l_cuts =
-    ((mkcut O (S O) EmptyString []) :: ((mkcut (S O) (S (S (S O))) (String
-                                          ((Ascii (false, false, true, false,
-                                          true, false, true, false)), (String
-                                          ((Ascii (true, false, false, true,
-                                          true, true, true, false)), (String
-                                          ((Ascii (false, false, false,
-                                          false, true, true, true, false)),
-                                          (String ((Ascii (true, false, true,
-                                          false, false, true, true, false)),
-                                          (String ((Ascii (true, true, false,
-                                          false, false, false, true, false)),
-                                          (String ((Ascii (true, true, true,
-                                          true, false, true, true, false)),
-                                          (String ((Ascii (false, false,
-                                          true, false, false, true, true,
-                                          false)), (String ((Ascii (true,
-                                          false, true, false, false, true,
-                                          true, false)),
-                                          EmptyString)))))))))))))))) []) :: (
-    (mkcut (S (S (S O))) (S (S (S (S (S (S O)))))) (String ((Ascii (true,
-      true, false, false, false, false, true, false)), (String ((Ascii (true,
-      true, true, true, false, true, true, false)), (String ((Ascii (false,
-      true, true, true, false, true, true, false)), (String ((Ascii (false,
-      false, true, false, true, true, true, false)), (String ((Ascii (true,
-      false, true, false, false, true, true, false)), (String ((Ascii (true,
-      true, false, false, true, true, true, false)), (String ((Ascii (false,
-      false, true, false, true, true, true, false)), (String ((Ascii (true,
-      false, true, false, false, true, true, false)), (String ((Ascii (false,
-      false, true, false, false, true, true, false)), (String ((Ascii (false,
-      true, false, false, true, false, true, false)), (String ((Ascii (true,
-      false, true, false, false, true, true, false)), (String ((Ascii (false,
-      false, true, false, true, true, true, false)), (String ((Ascii (true,
-      false, true, false, true, true, true, false)), (String ((Ascii (false,
-      true, false, false, true, true, true, false)), (String ((Ascii (false,
-      true, true, true, false, true, true, false)), (String ((Ascii (true,
-      true, false, false, false, false, true, false)), (String ((Ascii (true,
-      true, true, true, false, true, true, false)), (String ((Ascii (false,
-      false, true, false, false, true, true, false)), (String ((Ascii (true,
-      false, true, false, false, true, true, false)),
-      EmptyString)))))))))))))))))))))))))))))))))))))) []) :: ((mkcut (S (S
-                                                                  (S (S (S (S
-                                                                  O)))))) (S
-                                                                  (S (S (S (S
-                                                                  (S (S (S (S
-                                                                  (S (S (S (S
-                                                                  (S (S (S (S
-                                                                  (S (S (S (S
-                                                                  O)))))))))))))))))))))
-                                                                  (String
-                                                                  ((Ascii
-                                                                  (true,
-                                                                  true, true,
-                                                                  true,
-                                                                  false,
-                                                                  false,
-                                                                  true,
-                                                                  false)),
-                                                                  (String
-                                                                  ((Ascii
-                                                                  (false,
-                                                                  true,
-                                                                  false,
-                                                                  false,
-                                                                  true, true,
-                                                                  true,
-                                                                  false)),
-                                                                  (String
-                                                                  ((Ascii
-                                                                  (true,
-                                                                  false,
-                                                                  false,
-                                                                  true,
-                                                                  false,
-                                                                  true, true,
-                                                                  false)),
-                                                                  (String
-                                                                  ((Ascii
-                                                                  (true,
-                                                                  true, true,
-                                                                  false,
-                                                                  false,
-                                                                  true, true,
-                                                                  false)),
-                                                                  (String
-                                                                  ((Ascii
-                                                                  (true,
-                                                                  false,
-                                                                  false,
-                                                                  true,
-                                                                  false,
-                                                                  true, true,
-                                                                  false)),
-                                                                  (String
-                                                                  ((Ascii
-                                                                  (false,
-                                                                  true, true,
-                                                                  true,
-                                                                  false,
-                                                                  true, true,
-                                                                  false)),
-                                                                  (String
-                                                                  ((Ascii
-                                                                  (true,
-                                                                  false,
-                                                                  false,
-                                                                  false,
-                                                                  false,
-                                                                  true, true,
-                                                                  false)),
-                                                                  (String
-                                                                  ((Ascii
-                                                                  (false,
-                                                                  false,
-                                                                  true, true,
-                                                                  false,
-                                                                  true, true,
-                                                                  false)),
-                                                                  (String
-                                                                  ((Ascii
-                                                                  (true,
-                                                                  false,
-                                                                  true,
-                                                                  false,
-                                                                  false,
-                                                                  false,
-                                                                  true,
-                                                                  false)),
-                                                                  (String
-                                                                  ((Ascii
-                                                                  (false,
-                                                                  true, true,
-                                                                  true,
-                                                                  false,
-                                                                  true, true,
-                                                                  false)),
-                                                                  (String
-                                                                  ((Ascii
-                                                                  (false,
-                                                                  false,
-                                                                  true,
-                                                                  false,
-                                                                  true, true,
-                                                                  true,
-                                                                  false)),
-                                                                  (String
-                                                                  ((Ascii
-                                                                  (false,
-                                                                  true,
-                                                                  false,
-                                                                  false,
-                                                                  true, true,
-                                                                  true,
-                                                                  false)),
-                                                                  (String
-                                                                  ((Ascii
-                                                                  (true,
-                                                                  false,
-                                                                  false,
-                                                                  true, true,
-                                                                  true, true,
-                                                                  false)),
-                                                                  (String
-                                                                  ((Ascii
-                                                                  (false,
-                                                                  false,
-                                                                  true,
-                                                                  false,
-                                                                  true,
-                                                                  false,
-                                                                  true,
-                                                                  false)),
-                                                                  (String
-                                                                  ((Ascii
-                                                                  (false,
-                                                                  true,
-                                                                  false,
-                                                                  false,
-                                                                  true, true,
-                                                                  true,
-                                                                  false)),
-                                                                  (String
-                                                                  ((Ascii
-                                                                  (true,
-                                                                  false,
-                                                                  false,
-                                                                  false,
-                                                                  false,
-                                                                  true, true,
-                                                                  false)),
-                                                                  (String
-                                                                  ((Ascii
-                                                                  (true,
-                                                                  true,
-                                                                  false,
-                                                                  false,
-                                                                  false,
-                                                                  true, true,
-                                                                  false)),
-                                                                  (String
-                                                                  ((Ascii
-                                                                  (true,
-                                                                  false,
-                                                                  true,
-                                                                  false,
-                                                                  false,
-                                                                  true, true,
-                                                                  false)),
-                                                                  (String
-                                                                  ((Ascii
-                                                                  (false,
-                                                                  true, true,
-                                                                  true,
-                                                                  false,
-                                                                  false,
-                                                                  true,
-                                                                  false)),
-                                                                  (String
-                                                                  ((Ascii
-                                                                  (true,
-                                                                  false,
-                                                                  true,
-                                                                  false,
-                                                                  true, true,
-                                                                  true,
-                                                                  false)),
-                                                                  (String
-                                                                  ((Ascii
-                                                                  (true,
-                                                                  false,
-                                                                  true, true,
-                                                                  false,
-                                                                  true, true,
-                                                                  false)),
-                                                                  (String
-                                                                  ((Ascii
-                                                                  (false,
-                                                                  true,
-                                                                  false,
-                                                                  false,
-                                                                  false,
-                                                                  true, true,
-                                                                  false)),
-                                                                  (String
-                                                                  ((Ascii
-                                                                  (true,
-                                                                  false,
-                                                                  true,
-                                                                  false,
-                                                                  false,
-                                                                  true, true,
-                                                                  false)),
-                                                                  (String
-                                                                  ((Ascii
-                                                                  (false,
-                                                                  true,
-                                                                  false,
-                                                                  false,
-                                                                  true, true,
-                                                                  true,
-                                                                  false)),
-                                                                  EmptyString))))))))))))))))))))))))))))))))))))))))))))))))
-                                                                  []) :: (
-    (mkcut (S (S (S (S (S (S (S (S (S (S (S (S (S (S (S (S (S (S (S (S (S
-      O))))))))))))))))))))) (S (S (S (S (S (S (S (S (S (S (S (S (S (S (S (S
-      (S (S (S (S (S (S (S (S (S (S (S O))))))))))))))))))))))))))) (String
-      ((Ascii (false, false, true, false, false, false, true, false)),
-      (String ((Ascii (true, false, false, false, false, true, true, false)),
-      (String ((Ascii (false, false, true, false, true, true, true, false)),
-      (String ((Ascii (true, false, true, false, false, true, true, false)),
-      (String ((Ascii (true, true, true, true, false, false, true, false)),
-      (String ((Ascii (false, true, false, false, true, true, true, false)),
-      (String ((Ascii (true, false, false, true, false, true, true, false)),
-      (String ((Ascii (true, true, true, false, false, true, true, false)),
-      (String ((Ascii (true, false, false, true, false, true, true, false)),
-      (String ((Ascii (false, true, true, true, false, true, true, false)),
-      (String ((Ascii (true, false, false, false, false, true, true, false)),
-      (String ((Ascii (false, false, true, true, false, true, true, false)),
-      (String ((Ascii (true, false, true, false, false, false, true, false)),
-      (String ((Ascii (false, true, true, true, false, true, true, false)),
-      (String ((Ascii (false, false, true, false, true, true, true, false)),
-      (String ((Ascii (false, true, false, false, true, true, true, false)),
-      (String ((Ascii (true, false, false, true, true, true, true, false)),
-      (String ((Ascii (false, true, false, false, true, false, true, false)),
-      (String ((Ascii (true, false, true, false, false, true, true, false)),
-      (String ((Ascii (false, false, true, false, true, true, true, false)),
-      (String ((Ascii (true, false, true, false, true, true, true, false)),
-      (String ((Ascii (false, true, false, false, true, true, true, false)),
-      (String ((Ascii (false, true, true, true, false, true, true, false)),
-      (String ((Ascii (true, false, true, false, false, true, true, false)),
-      (String ((Ascii (false, false, true, false, false, true, true, false)),
-      EmptyString)))))))))))))))))))))))))))))))))))))))))))))))))) []) :: (
-    (mkcut (S (S (S (S (S (S (S (S (S (S (S (S (S (S (S (S (S (S (S (S (S (S
-      (S (S (S (S (S O))))))))))))))))))))))))))) (S (S (S (S (S (S (S (S (S
-      (S (S (S (S (S (S (S (S (S (S (S (S (S (S (S (S (S (S (S (S (S (S (S (S
-      (S (S O))))))))))))))))))))))))))))))))))) (String ((Ascii (true, true,
-      true, true, false, false, true, false)), (String ((Ascii (false, true,
-      false, false, true, true, true, false)), (String ((Ascii (true, false,
-      false, true, false, true, true, false)), (String ((Ascii (true, true,
-      true, false, false, true, true, false)), (String ((Ascii (true, false,
-      false, true, false, true, true, false)), (String ((Ascii (false, true,
-      true, true, false, true, true, false)), (String ((Ascii (true, false,
-      false, false, false, true, true, false)), (String ((Ascii (false,
-      false, true, true, false, true, true, false)), (String ((Ascii (false,
-      true, false, false, true, false, true, false)), (String ((Ascii (true,
-      false, true, false, false, true, true, false)), (String ((Ascii (true,
-      true, false, false, false, true, true, false)), (String ((Ascii (true,
-      false, true, false, false, true, true, false)), (String ((Ascii (true,
-      false, false, true, false, true, true, false)), (String ((Ascii (false,
-      true, true, false, true, true, true, false)), (String ((Ascii (true,
-      false, false, true, false, true, true, false)), (String ((Ascii (false,
-      true, true, true, false, true, true, false)), (String ((Ascii (true,
-      true, true, false, false, true, true, false)), (String ((Ascii (false,
-      false, true, false, false, false, true, false)), (String ((Ascii
-      (false, true, true, false, false, false, true, false)), (String ((Ascii
-      (true, false, false, true, false, false, true, false)), (String ((Ascii
-      (true, false, false, true, false, false, true, false)), (String ((Ascii
-      (false, false, true, false, false, true, true, false)), (String ((Ascii
-      (true, false, true, false, false, true, true, false)), (String ((Ascii
-      (false, true, true, true, false, true, true, false)), (String ((Ascii
-      (false, false, true, false, true, true, true, false)), (String ((Ascii
-      (true, false, false, true, false, true, true, false)), (String ((Ascii
-      (false, true, true, false, false, true, true, false)), (String ((Ascii
-      (true, false, false, true, false, true, true, false)), (String ((Ascii
-      (true, true, false, false, false, true, true, false)), (String ((Ascii
-      (true, false, false, false, false, true, true, false)), (String ((Ascii
-      (false, false, true, false, true, true, true, false)), (String ((Ascii
-      (true, false, false, true, false, true, true, false)), (String ((Ascii
-      (true, true, true, true, false, true, true, false)), (String ((Ascii
-      (false, true, true, true, false, true, true, false)),
-      EmptyString))))))))))))))))))))))))))))))))))))))))))))))))))))))))))))))))))))
-      []) :: ((mkcut (S (S (S (S (S (S (S (S (S (S (S (S (S (S (S (S (S (S (S
-                (S (S (S (S (S (S (S (S (S (S (S (S (S (S (S (S
-                O))))))))))))))))))))))))))))))))))) (S (S (S (S (S (S (S (S
-                (S (S (S (S (S (S (S (S (S (S (S (S (S (S (S (S (S (S (S (S
-                (S (S (S (S (S (S (S (S (S (S
-                O)))))))))))))))))))))))))))))))))))))) (String ((Ascii
-                (true, true, true, true, false, false, true, false)), (String
-                ((Ascii (false, true, false, false, true, true, true,
-                false)), (String ((Ascii (true, false, false, true, false,
-                true, true, false)), (String ((Ascii (true, true, true,
-                false, false, true, true, false)), (String ((Ascii (true,
-                false, false, true, false, true, true, false)), (String
-                ((Ascii (false, true, true, true, false, true, true, false)),
-                (String ((Ascii (true, false, false, false, false, true,
-                true, false)), (String ((Ascii (false, false, true, true,
-                false, true, true, false)), (String ((Ascii (true, true,
-                false, false, true, false, true, false)), (String ((Ascii
-                (true, false, true, false, false, true, true, false)),
-                (String ((Ascii (false, false, true, false, true, true, true,
-                false)), (String ((Ascii (false, false, true, false, true,
-                true, true, false)), (String ((Ascii (false, false, true,
-                true, false, true, true, false)), (String ((Ascii (true,
-                false, true, false, false, true, true, false)), (String
-                ((Ascii (true, false, true, true, false, true, true, false)),
-                (String ((Ascii (true, false, true, false, false, true, true,
-                false)), (String ((Ascii (false, true, true, true, false,
-                true, true, false)), (String ((Ascii (false, false, true,
-                false, true, true, true, false)), (String ((Ascii (false,
-                false, true, false, false, false, true, false)), (String
-                ((Ascii (true, false, false, false, false, true, true,
-                false)), (String ((Ascii (false, false, true, false, true,
-                true, true, false)), (String ((Ascii (true, false, true,
-                false, false, true, true, false)),
-                EmptyString)))))))))))))))))))))))))))))))))))))))))))) []) :: (
-    (mkcut (S (S (S (S (S (S (S (S (S (S (S (S (S (S (S (S (S (S (S (S (S (S
-      (S (S (S (S (S (S (S (S (S (S (S (S (S (S (S (S
-      O)))))))))))))))))))))))))))))))))))))) (S (S (S (S (S (S (S (S (S (S
-      (S (S (S (S (S (S (S (S (S (S (S (S (S (S (S (S (S (S (S (S (S (S (S (S
-      (S (S (S (S (S (S (S (S (S (S (S (S (S (S (S (S (S (S (S
-      O))))))))))))))))))))))))))))))))))))))))))))))))))))) (String ((Ascii
-      (false, true, false, false, true, false, true, false)), (String ((Ascii
-      (true, false, true, false, false, true, true, false)), (String ((Ascii
-      (false, false, true, false, true, true, true, false)), (String ((Ascii
-      (true, false, true, false, true, true, true, false)), (String ((Ascii
-      (false, true, false, false, true, true, true, false)), (String ((Ascii
-      (false, true, true, true, false, true, true, false)), (String ((Ascii
-      (false, false, true, false, true, false, true, false)), (String ((Ascii
-      (false, true, false, false, true, true, true, false)), (String ((Ascii
-      (true, false, false, false, false, true, true, false)), (String ((Ascii
-      (true, true, false, false, false, true, true, false)), (String ((Ascii
-      (true, false, true, false, false, true, true, false)), (String ((Ascii
-      (false, true, true, true, false, false, true, false)), (String ((Ascii
-      (true, false, true, false, true, true, true, false)), (String ((Ascii
-      (true, false, true, true, false, true, true, false)), (String ((Ascii
-      (false, true, false, false, false, true, true, false)), (String ((Ascii
-      (true, false, true, false, false, true, true, false)), (String ((Ascii
-      (false, true, false, false, true, true, true, false)),
-      EmptyString)))))))))))))))))))))))))))))))))) []) :: ((mkcut (S (S (S
-                                                              (S (S (S (S (S
-                                                              (S (S (S (S (S
-                                                              (S (S (S (S (S
-                                                              (S (S (S (S (S
-                                                              (S (S (S (S (S
-                                                              (S (S (S (S (S
-                                                              (S (S (S (S (S
-                                                              (S (S (S (S (S
-                                                              (S (S (S (S (S
-                                                              (S (S (S (S (S
-                                                              O)))))))))))))))))))))))))))))))))))))))))))))))))))))
-                                                              (S (S (S (S (S
-                                                              (S (S (S (S (S
-                                                              (S (S (S (S (S
-                                                              (S (S (S (S (S
-                                                              (S (S (S (S (S
-                                                              (S (S (S (S (S
-                                                              (S (S (S (S (S
-                                                              (S (S (S (S (S
-                                                              (S (S (S (S (S
-                                                              (S (S (S (S (S
-                                                              (S (S (S (S (S
-                                                              (S
-                                                              O))))))))))))))))))))))))))))))))))))))))))))))))))))))))
-                                                              (String ((Ascii
-                                                              (false, true,
-                                                              false, false,
-                                                              true, false,
-                                                              true, false)),
-                                                              (String ((Ascii
-                                                              (true, false,
-                                                              true, false,
-                                                              false, true,
-                                                              true, false)),
-                                                              (String ((Ascii
-                                                              (false, false,
-                                                              true, false,
-                                                              true, true,
-                                                              true, false)),
-                                                              (String ((Ascii
-                                                              (true, false,
-                                                              true, false,
-                                                              true, true,
-                                                              true, false)),
-                                                              (String ((Ascii
-                                                              (false, true,
-                                                              false, false,
-                                                              true, true,
-                                                              true, false)),
-                                                              (String ((Ascii
-                                                              (false, true,
-                                                              true, true,
-                                                              false, true,
-                                                              true, false)),
-                                                              (String ((Ascii
-                                                              (true, true,
-                                                              false, false,
-                                                              true, false,
-                                                              true, false)),
-                                                              (String ((Ascii
-                                                              (true, false,
-                                                              true, false,
-                                                              false, true,
-                                                              true, false)),
-                                                              (String ((Ascii
-                                                              (false, false,
-                                                              true, false,
-                                                              true, true,
-                                                              true, false)),
-                                                              (String ((Ascii
-                                                              (false, false,
-                                                              true, false,
-                                                              true, true,
-                                                              true, false)),
-                                                              (String ((Ascii
-                                                              (false, false,
-                                                              true, true,
-                                                              false, true,
-                                                              true, false)),
-                                                              (String ((Ascii
-                                                              (true, false,
-                                                              true, false,
-                                                              false, true,
-                                                              true, false)),
-                                                              (String ((Ascii
-                                                              (true, false,
-                                                              true, true,
-                                                              false, true,
-                                                              true, false)),
-                                                              (String ((Ascii
-                                                              (true, false,
-                                                              true, false,
-                                                              false, true,
-                                                              true, false)),
-                                                              (String ((Ascii
-                                                              (false, true,
-                                                              true, true,
-                                                              false, true,
-                                                              true, false)),
-                                                              (String ((Ascii
-                                                              (false, false,
-                                                              true, false,
-                                                              true, true,
-                                                              true, false)),
-                                                              (String ((Ascii
-                                                              (false, false,
-                                                              true, false,
-                                                              false, false,
-                                                              true, false)),
-                                                              (String ((Ascii
-                                                              (true, false,
-                                                              false, false,
-                                                              false, true,
-                                                              true, false)),
-                                                              (String ((Ascii
-                                                              (false, false,
-                                                              true, false,
-                                                              true, true,
-                                                              true, false)),
-                                                              (String ((Ascii
-                                                              (true, false,
-                                                              true, false,
-                                                              false, true,
-                                                              true, false)),
-                                                              EmptyString))))))))))))))))))))))))))))))))))))))))
-                                                              []) :: (
-    (mkcut (S (S (S (S (S (S (S (S (S (S (S (S (S (S (S (S (S (S (S (S (S (S
-      (S (S (S (S (S (S (S (S (S (S (S (S (S (S (S (S (S (S (S (S (S (S (S (S
-      (S (S (S (S (S (S (S (S (S (S
-      O)))))))))))))))))))))))))))))))))))))))))))))))))))))))) (S (S (S (S
-      (S (S (S (S (S (S (S (S (S (S (S (S (S (S (S (S (S (S (S (S (S (S (S (S
-      (S (S (S (S (S (S (S (S (S (S (S (S (S (S (S (S (S (S (S (S (S (S (S (S
-      (S (S (S (S (S (S
-      O)))))))))))))))))))))))))))))))))))))))))))))))))))))))))) (String
-      ((Ascii (false, true, false, false, true, false, true, false)), (String
-      ((Ascii (true, false, true, false, false, true, true, false)), (String
-      ((Ascii (false, false, true, false, true, true, true, false)), (String
-      ((Ascii (true, false, true, false, true, true, true, false)), (String
-      ((Ascii (false, true, false, false, true, true, true, false)), (String
-      ((Ascii (false, true, true, true, false, true, true, false)), (String
-      ((Ascii (false, true, false, false, true, false, true, false)), (String
-      ((Ascii (true, false, true, false, false, true, true, false)), (String
-      ((Ascii (true, false, false, false, false, true, true, false)), (String
-      ((Ascii (true, true, false, false, true, true, true, false)), (String
-      ((Ascii (true, true, true, true, false, true, true, false)), (String
-      ((Ascii (false, true, true, true, false, true, true, false)), (String
-      ((Ascii (true, true, false, false, false, false, true, false)), (String
-      ((Ascii (true, true, true, true, false, true, true, false)), (String
-      ((Ascii (false, false, true, false, false, true, true, false)), (String
-      ((Ascii (true, false, true, false, false, true, true, false)),
-      EmptyString)))))))))))))))))))))))))))))))) []) :: ((mkcut (S (S (S (S
-                                                            (S (S (S (S (S (S
-                                                            (S (S (S (S (S (S
-                                                            (S (S (S (S (S (S
-                                                            (S (S (S (S (S (S
-                                                            (S (S (S (S (S (S
-                                                            (S (S (S (S (S (S
-                                                            (S (S (S (S (S (S
-                                                            (S (S (S (S (S (S
-                                                            (S (S (S (S (S (S
-                                                            O))))))))))))))))))))))))))))))))))))))))))))))))))))))))))
-                                                            (S (S (S (S (S (S
-                                                            (S (S (S (S (S (S
-                                                            (S (S (S (S (S (S
-                                                            (S (S (S (S (S (S
-                                                            (S (S (S (S (S (S
-                                                            (S (S (S (S (S (S
-                                                            (S (S (S (S (S (S
-                                                            (S (S (S (S (S (S
-                                                            (S (S (S (S (S (S
-                                                            (S (S (S (S (S (S
-                                                            (S (S (S (S (S (S
-                                                            (S (S (S (S (S (S
-                                                            (S
-                                                            O)))))))))))))))))))))))))))))))))))))))))))))))))))))))))))))))))))))))))
-                                                            (String ((Ascii
-                                                            (false, false,
-                                                            true, false,
-                                                            false, false,
-                                                            true, false)),
-                                                            (String ((Ascii
-                                                            (true, false,
-                                                            false, true,
-                                                            false, true,
-                                                            true, false)),
-                                                            (String ((Ascii
-                                                            (true, true,
-                                                            false, false,
-                                                            true, true, true,
-                                                            false)), (String
-                                                            ((Ascii (false,
-                                                            false, false,
-                                                            true, false,
-                                                            true, true,
-                                                            false)), (String
-                                                            ((Ascii (true,
-                                                            true, true, true,
-                                                            false, true,
-                                                            true, false)),
-                                                            (String ((Ascii
-                                                            (false, true,
-                                                            true, true,
-                                                            false, true,
-                                                            true, false)),
-                                                            (String ((Ascii
-                                                            (true, true,
-                                                            true, true,
-                                                            false, true,
-                                                            true, false)),
-                                                            (String ((Ascii
-                                                            (false, true,
-                                                            false, false,
-                                                            true, true, true,
-                                                            false)), (String
-                                                            ((Ascii (true,
-                                                            false, true,
-                                                            false, false,
-                                                            true, true,
-                                                            false)), (String
-                                                            ((Ascii (false,
-                                                            false, true,
-                                                            false, false,
-                                                            true, true,
-                                                            false)), (String
-                                                            ((Ascii (false,
-                                                            true, false,
-                                                            false, true,
-                                                            false, true,
-                                                            false)), (String
-                                                            ((Ascii (true,
-                                                            false, true,
-                                                            false, false,
-                                                            true, true,
-                                                            false)), (String
-                                                            ((Ascii (false,
-                                                            false, true,
-                                                            false, true,
-                                                            true, true,
-                                                            false)), (String
-                                                            ((Ascii (true,
-                                                            false, true,
-                                                            false, true,
-                                                            true, true,
-                                                            false)), (String
-                                                            ((Ascii (false,
-                                                            true, false,
-                                                            false, true,
-                                                            true, true,
-                                                            false)), (String
-                                                            ((Ascii (false,
-                                                            true, true, true,
-                                                            false, true,
-                                                            true, false)),
-                                                            (String ((Ascii
-                                                            (false, false,
-                                                            true, false,
-                                                            true, false,
-                                                            true, false)),
-                                                            (String ((Ascii
-                                                            (false, true,
-                                                            false, false,
-                                                            true, true, true,
-                                                            false)), (String
-                                                            ((Ascii (true,
-                                                            false, false,
-                                                            false, false,
-                                                            true, true,
-                                                            false)), (String
-                                                            ((Ascii (true,
-                                                            true, false,
-                                                            false, false,
-                                                            true, true,
-                                                            false)), (String
-                                                            ((Ascii (true,
-                                                            false, true,
-                                                            false, false,
-                                                            true, true,
-                                                            false)), (String
-                                                            ((Ascii (false,
-                                                            true, true, true,
-                                                            false, false,
-                                                            true, false)),
-                                                            (String ((Ascii
-                                                            (true, false,
-                                                            true, false,
-                                                            true, true, true,
-                                                            false)), (String
-                                                            ((Ascii (true,
-                                                            false, true,
-                                                            true, false,
-                                                            true, true,
-                                                            false)), (String
-                                                            ((Ascii (false,
-                                                            true, false,
-                                                            false, false,
-                                                            true, true,
-                                                            false)), (String
-                                                            ((Ascii (true,
-                                                            false, true,
-                                                            false, false,
-                                                            true, true,
-                                                            false)), (String
-                                                            ((Ascii (false,
-                                                            true, false,
-                                                            false, true,
-                                                            true, true,
-                                                            false)),
-                                                            EmptyString))))))))))))))))))))))))))))))))))))))))))))))))))))))
-                                                            []) :: ((mkcut (S
-                                                                    (S (S (S
-                                                                    (S (S (S
-                                                                    (S (S (S
-                                                                    (S (S (S
-                                                                    (S (S (S
-                                                                    (S (S (S
-                                                                    (S (S (S
-                                                                    (S (S (S
-                                                                    (S (S (S
-                                                                    (S (S (S
-                                                                    (S (S (S
-                                                                    (S (S (S
-                                                                    (S (S (S
-                                                                    (S (S (S
-                                                                    (S (S (S
-                                                                    (S (S (S
-                                                                    (S (S (S
-                                                                    (S (S (S
-                                                                    (S (S (S
-                                                                    (S (S (S
-                                                                    (S (S (S
-                                                                    (S (S (S
-                                                                    (S (S (S
-                                                                    (S (S (S
-                                                                    O)))))))))))))))))))))))))))))))))))))))))))))))))))))))))))))))))))))))))
-                                                                    (S (S (S
-                                                                    (S (S (S
-                                                                    (S (S (S
-                                                                    (S (S (S
-                                                                    (S (S (S
-                                                                    (S (S (S
-                                                                    (S (S (S
-                                                                    (S (S (S
-                                                                    (S (S (S
-                                                                    (S (S (S
-                                                                    (S (S (S
-                                                                    (S (S (S
-                                                                    (S (S (S
-                                                                    (S (S (S
-                                                                    (S (S (S
-                                                                    (S (S (S
-                                                                    (S (S (S
-                                                                    (S (S (S
-                                                                    (S (S (S
-                                                                    (S (S (S
-                                                                    (S (S (S
-                                                                    (S (S (S
-                                                                    (S (S (S
-                                                                    (S (S (S
-                                                                    (S (S (S
-                                                                    (S
-                                                                    O))))))))))))))))))))))))))))))))))))))))))))))))))))))))))))))))))))))))))))
-                                                                    (String
-                                                                    ((Ascii
-                                                                    (false,
-                                                                    false,
-                                                                    true,
-                                                                    false,
-                                                                    false,
-                                                                    false,
-                                                                    true,
-                                                                    false)),
-                                                                    (String
-                                                                    ((Ascii
-                                                                    (true,
-                                                                    false,
-                                                                    false,
-                                                                    true,
-                                                                    false,
-                                                                    true,
-                                                                    true,
-                                                                    false)),
-                                                                    (String
-                                                                    ((Ascii
-                                                                    (true,
-                                                                    true,
-                                                                    false,
-                                                                    false,
-                                                                    true,
-                                                                    true,
-                                                                    true,
-                                                                    false)),
-                                                                    (String
-                                                                    ((Ascii
-                                                                    (false,
-                                                                    false,
-                                                                    false,
-                                                                    true,
-                                                                    false,
-                                                                    true,
-                                                                    true,
-                                                                    false)),
-                                                                    (String
-                                                                    ((Ascii
-                                                                    (true,
-                                                                    true,
-                                                                    true,
-                                                                    true,
-                                                                    false,
-                                                                    true,
-                                                                    true,
-                                                                    false)),
-                                                                    (String
-                                                                    ((Ascii
-                                                                    (false,
-                                                                    true,
-                                                                    true,
-                                                                    true,
-                                                                    false,
-                                                                    true,
-                                                                    true,
-                                                                    false)),
-                                                                    (String
-                                                                    ((Ascii
-                                                                    (true,
-                                                                    true,
-                                                                    true,
-                                                                    true,
-                                                                    false,
-                                                                    true,
-                                                                    true,
-                                                                    false)),
-                                                                    (String
-                                                                    ((Ascii
-                                                                    (false,
-                                                                    true,
-                                                                    false,
-                                                                    false,
-                                                                    true,
-                                                                    true,
-                                                                    true,
-                                                                    false)),
-                                                                    (String
-                                                                    ((Ascii
-                                                                    (true,
-                                                                    false,
-                                                                    true,
-                                                                    false,
-                                                                    false,
-                                                                    true,
-                                                                    true,
-                                                                    false)),
-                                                                    (String
-                                                                    ((Ascii
-                                                                    (false,
-                                                                    false,
-                                                                    true,
-                                                                    false,
-                                                                    false,
-                                                                    true,
-                                                                    true,
-                                                                    false)),
-                                                                    (String
-                                                                    ((Ascii
-                                                                    (false,
-                                                                    true,
-                                                                    false,
-                                                                    false,
-                                                                    true,
-                                                                    false,
-                                                                    true,
-                                                                    false)),
-                                                                    (String
-                                                                    ((Ascii
-                                                                    (true,
-                                                                    false,
-                                                                    true,
-                                                                    false,
-                                                                    false,
-                                                                    true,
-                                                                    true,
-                                                                    false)),
-                                                                    (String
-                                                                    ((Ascii
-                                                                    (false,
-                                                                    false,
-                                                                    true,
-                                                                    false,
-                                                                    true,
-                                                                    true,
-                                                                    true,
-                                                                    false)),
-                                                                    (String
-                                                                    ((Ascii
-                                                                    (true,
-                                                                    false,
-                                                                    true,
-                                                                    false,
-                                                                    true,
-                                                                    true,
-                                                                    true,
-                                                                    false)),
-                                                                    (String
-                                                                    ((Ascii
-                                                                    (false,
-                                                                    true,
-                                                                    false,
-                                                                    false,
-                                                                    true,
-                                                                    true,
-                                                                    true,
-                                                                    false)),
-                                                                    (String
-                                                                    ((Ascii
-                                                                    (false,
-                                                                    true,
-                                                                    true,
-                                                                    true,
-                                                                    false,
-                                                                    true,
-                                                                    true,
-                                                                    false)),
-                                                                    (String
-                                                                    ((Ascii
-                                                                    (true,
-                                                                    true,
-                                                                    false,
-                                                                    false,
-                                                                    true,
-                                                                    false,
-                                                                    true,
-                                                                    false)),
-                                                                    (String
-                                                                    ((Ascii
-                                                                    (true,
-                                                                    false,
-                                                                    true,
-                                                                    false,
-                                                                    false,
-                                                                    true,
-                                                                    true,
-                                                                    false)),
-                                                                    (String
-                                                                    ((Ascii
-                                                                    (false,
-                                                                    false,
-                                                                    true,
-                                                                    false,
-                                                                    true,
-                                                                    true,
-                                                                    true,
-                                                                    false)),
-                                                                    (String
-                                                                    ((Ascii
-                                                                    (false,
-                                                                    false,
-                                                                    true,
-                                                                    false,
-                                                                    true,
-                                                                    true,
-                                                                    true,
-                                                                    false)),
-                                                                    (String
-                                                                    ((Ascii
-                                                                    (false,
-                                                                    false,
-                                                                    true,
-                                                                    true,
-                                                                    false,
-                                                                    true,
-                                                                    true,
-                                                                    false)),
-                                                                    (String
-                                                                    ((Ascii
-                                                                    (true,
-                                                                    false,
-                                                                    true,
-                                                                    false,
-                                                                    false,
-                                                                    true,
-                                                                    true,
-                                                                    false)),
-                                                                    (String
-                                                                    ((Ascii
-                                                                    (true,
-                                                                    false,
-                                                                    true,
-                                                                    true,
-                                                                    false,
-                                                                    true,
-                                                                    true,
-                                                                    false)),
-                                                                    (String
-                                                                    ((Ascii
-                                                                    (true,
-                                                                    false,
-                                                                    true,
-                                                                    false,
-                                                                    false,
-                                                                    true,
-                                                                    true,
-                                                                    false)),
-                                                                    (String
-                                                                    ((Ascii
-                                                                    (false,
-                                                                    true,
-                                                                    true,
-                                                                    true,
-                                                                    false,
-                                                                    true,
-                                                                    true,
-                                                                    false)),
-                                                                    (String
-                                                                    ((Ascii
-                                                                    (false,
-                                                                    false,
-                                                                    true,
-                                                                    false,
-                                                                    true,
-                                                                    true,
-                                                                    true,
-                                                                    false)),
-                                                                    (String
-                                                                    ((Ascii
-                                                                    (false,
-                                                                    false,
-                                                                    true,
-                                                                    false,
-                                                                    false,
-                                                                    false,
-                                                                    true,
-                                                                    false)),
-                                                                    (String
-                                                                    ((Ascii
-                                                                    (true,
-                                                                    false,
-                                                                    false,
-                                                                    false,
-                                                                    false,
-                                                                    true,
-                                                                    true,
-                                                                    false)),
-                                                                    (String
-                                                                    ((Ascii
-                                                                    (false,
-                                                                    false,
-                                                                    true,
-                                                                    false,
-                                                                    true,
-                                                                    true,
-                                                                    true,
-                                                                    false)),
-                                                                    (String
-                                                                    ((Ascii
-                                                                    (true,
-                                                                    false,
-                                                                    true,
-                                                                    false,
-                                                                    false,
-                                                                    true,
-                                                                    true,
-                                                                    false)),
-                                                                    EmptyString))))))))))))))))))))))))))))))))))))))))))))))))))))))))))))
-                                                                    []) :: (
-    (mkcut (S (S (S (S (S (S (S (S (S (S (S (S (S (S (S (S (S (S (S (S (S (S
-      (S (S (S (S (S (S (S (S (S (S (S (S (S (S (S (S (S (S (S (S (S (S (S (S
-      (S (S (S (S (S (S (S (S (S (S (S (S (S (S (S (S (S (S (S (S (S (S (S (S
-      (S (S (S (S (S (S
-      O))))))))))))))))))))))))))))))))))))))))))))))))))))))))))))))))))))))))))))
-      (S (S (S (S (S (S (S (S (S (S (S (S (S (S (S (S (S (S (S (S (S (S (S (S
-      (S (S (S (S (S (S (S (S (S (S (S (S (S (S (S (S (S (S (S (S (S (S (S (S
-      (S (S (S (S (S (S (S (S (S (S (S (S (S (S (S (S (S (S (S (S (S (S (S (S
-      (S (S (S (S (S (S
-      O))))))))))))))))))))))))))))))))))))))))))))))))))))))))))))))))))))))))))))))
-      (String ((Ascii (false, false, true, false, false, false, true,
-      false)), (String ((Ascii (true, false, false, true, false, true, true,
-      false)), (String ((Ascii (true, true, false, false, true, true, true,
-      false)), (String ((Ascii (false, false, false, true, false, true, true,
-      false)), (String ((Ascii (true, true, true, true, false, true, true,
-      false)), (String ((Ascii (false, true, true, true, false, true, true,
-      false)), (String ((Ascii (true, true, true, true, false, true, true,
-      false)), (String ((Ascii (false, true, false, false, true, true, true,
-      false)), (String ((Ascii (true, false, true, false, false, true, true,
-      false)), (String ((Ascii (false, false, true, false, false, true, true,
-      false)), (String ((Ascii (false, true, false, false, true, false, true,
-      false)), (String ((Ascii (true, false, true, false, false, true, true,
-      false)), (String ((Ascii (false, false, true, false, true, true, true,
-      false)), (String ((Ascii (true, false, true, false, true, true, true,
-      false)), (String ((Ascii (false, true, false, false, true, true, true,
-      false)), (String ((Ascii (false, true, true, true, false, true, true,
-      false)), (String ((Ascii (false, true, false, false, true, false, true,
-      false)), (String ((Ascii (true, false, true, false, false, true, true,
-      false)), (String ((Ascii (true, false, false, false, false, true, true,
-      false)), (String ((Ascii (true, true, false, false, true, true, true,
-      false)), (String ((Ascii (true, true, true, true, false, true, true,
-      false)), (String ((Ascii (false, true, true, true, false, true, true,
-      false)), (String ((Ascii (true, true, false, false, false, false, true,
-      false)), (String ((Ascii (true, true, true, true, false, true, true,
-      false)), (String ((Ascii (false, false, true, false, false, true, true,
-      false)), (String ((Ascii (true, false, true, false, false, true, true,
-      false)),
-      EmptyString)))))))))))))))))))))))))))))))))))))))))))))))))))) []) :: (
-    (mkcut (S (S (S (S (S (S (S (S (S (S (S (S (S (S (S (S (S (S (S (S (S (S
-      (S (S (S (S (S (S (S (S (S (S (S (S (S (S (S (S (S (S (S (S (S (S (S (S
-      (S (S (S (S (S (S (S (S (S (S (S (S (S (S (S (S (S (S (S (S (S (S (S (S
-      (S (S (S (S (S (S (S (S
-      O))))))))))))))))))))))))))))))))))))))))))))))))))))))))))))))))))))))))))))))
-      (S (S (S (S (S (S (S (S (S (S (S (S (S (S (S (S (S (S (S (S (S (S (S (S
-      (S (S (S (S (S (S (S (S (S (S (S (S (S (S (S (S (S (S (S (S (S (S (S (S
-      (S (S (S (S (S (S (S (S (S (S (S (S (S (S (S (S (S (S (S (S (S (S (S (S
-      (S (S (S (S (S (S (S
-      O)))))))))))))))))))))))))))))))))))))))))))))))))))))))))))))))))))))))))))))))
-      EmptyString []) :: ((mkcut (S (S (S (S (S (S (S (S (S (S (S (S (S (S (S
-                            (S (S (S (S (S (S (S (S (S (S (S (S (S (S (S (S
-                            (S (S (S (S (S (S (S (S (S (S (S (S (S (S (S (S
-                            (S (S (S (S (S (S (S (S (S (S (S (S (S (S (S (S
-                            (S (S (S (S (S (S (S (S (S (S (S (S (S (S (S (S
-                            O)))))))))))))))))))))))))))))))))))))))))))))))))))))))))))))))))))))))))))))))
-                            (S (S (S (S (S (S (S (S (S (S (S (S (S (S (S (S
-                            (S (S (S (S (S (S (S (S (S (S (S (S (S (S (S (S
-                            (S (S (S (S (S (S (S (S (S (S (S (S (S (S (S (S
-                            (S (S (S (S (S (S (S (S (S (S (S (S (S (S (S (S
-                            (S (S (S (S (S (S (S (S (S (S (S (S (S (S (S (S
-                            (S (S (S (S (S (S (S (S (S (S (S (S (S (S
-                            O))))))))))))))))))))))))))))))))))))))))))))))))))))))))))))))))))))))))))))))))))))))))))))))
-                            (String ((Ascii (false, false, true, false, true,
-                            false, true, false)), (String ((Ascii (false,
-                            true, false, false, true, true, true, false)),
-                            (String ((Ascii (true, false, false, false,
-                            false, true, true, false)), (String ((Ascii
-                            (true, true, false, false, false, true, true,
-                            false)), (String ((Ascii (true, false, true,
-                            false, false, true, true, false)), (String
-                            ((Ascii (false, true, true, true, false, false,
-                            true, false)), (String ((Ascii (true, false,
-                            true, false, true, true, true, false)), (String
-                            ((Ascii (true, false, true, true, false, true,
-                            true, false)), (String ((Ascii (false, true,
-                            false, false, false, true, true, false)), (String
-                            ((Ascii (true, false, true, false, false, true,
-                            true, false)), (String ((Ascii (false, true,
-                            false, false, true, true, true, false)),
-                            EmptyString)))))))))))))))))))))) []) :: []))))))))))))))) }
-
-(** val l_Addenda99Dishonored : layout **)
-
-let l_Addenda99Dishonored =
-  { l_name = (String ((Ascii (true, false, false, false, false, false, true,
-    false)), (String ((Ascii (false, false, true, false, false, true, true,
-    false)), (String ((Ascii (false, false, true, false, false, true, true,
-    false)), (String ((Ascii (true, false, true, false, false, true, true,
-    false)), (String ((Ascii (false, true, true, true, false, true, true,
-    false)), (String ((Ascii (false, false, true, false, false, true, true,
-    false)), (String ((Ascii (true, false, false, false, false, true, true,
-    false)), (String ((Ascii (true, false, false, true, true, true, false,
-    false)), (String ((Ascii (true, false, false, true, true, true, false,
-    false)), (String ((Ascii (false, false, true, false, false, false, true,
-    false)), (String ((Ascii (true, false, false, true, false, true, true,
-    false)), (String ((Ascii (true, true, false, false, true, true, true,
-    false)), (String ((Ascii (false, false, false, true, false, true, true,
-    false)), (String ((Ascii (true, true, true, true, false, true, true,
-    false)), (String ((Ascii (false, true, true, true, false, true, true,
-    false)), (String ((Ascii (true, true, true, true, false, true, true,
-    false)), (String ((Ascii (false, true, false, false, true, true, true,
-    false)), (String ((Ascii (true, false, true, false, false, true, true,
-    false)), (String ((Ascii (false, false, true, false, false, true, true,
-    false)), EmptyString)))))))))))))))))))))))))))))))))))))); l_ix = IRune;
-    l_segs = ((SLit ((Npos (XI (XI (XI (XO (XI XH)))))) :: [])) :: ((SRaw
-    (String ((Ascii (false, false, true, false, true, false, true, false)),
-    (String ((Ascii (true, false, false, true, true, true, true, false)),
-    (String ((Ascii (false, false, false, false, true, true, true, false)),
-    (String ((Ascii (true, false, true, false, false, true, true, false)),
-    (String ((Ascii (true, true, false, false, false, false, true, false)),
-    (String ((Ascii (true, true, true, true, false, true, true, false)),
-    (String ((Ascii (false, false, true, false, false, true, true, false)),
-    (String ((Ascii (true, false, true, false, false, true, true, false)),
-    EmptyString))))))))))))))))) :: ((SStr ((String ((Ascii (false, false,
-    true, false, false, false, true, false)), (String ((Ascii (true, false,
-    false, true, false, true, true, false)), (String ((Ascii (true, true,
-    false, false, true, true, true, false)), (String ((Ascii (false, false,
-    false, true, false, true, true, false)), (String ((Ascii (true, true,
-    true, true, false, true, true, false)), (String ((Ascii (false, true,
-    true, true, false, true, true, false)), (String ((Ascii (true, true,
-    true, true, false, true, true, false)), (String ((Ascii (false, true,
-    false, false, true, true, true, false)), (String ((Ascii (true, false,
-    true, false, false, true, true, false)), (String ((Ascii (false, false,
-    true, false, false, true, true, false)), (String ((Ascii (false, true,
-    false, false, true, false, true, false)), (String ((Ascii (true, false,
-    true, false, false, true, true, false)), (String ((Ascii (false, false,
-    true, false, true, true, true, false)), (String ((Ascii (true, false,
-    true, false, true, true, true, false)), (String ((Ascii (false, true,
-    false, false, true, true, true, false)), (String ((Ascii (false, true,
-    true, true, false, true, true, false)), (String ((Ascii (false, true,
-    false, false, true, false, true, false)), (String ((Ascii (true, false,
-    true, false, false, true, true, false)), (String ((Ascii (true, false,
-    false, false, false, true, true, false)), (String ((Ascii (true, true,
-    false, false, true, true, true, false)), (String ((Ascii (true, true,
-    true, true, false, true, true, false)), (String ((Ascii (false, true,
-    true, true, false, true, true, false)), (String ((Ascii (true, true,
-    false, false, false, false, true, false)), (String ((Ascii (true, true,
-    true, true, false, true, true, false)), (String ((Ascii (false, false,
-    true, false, false, true, true, false)), (String ((Ascii (true, false,
-    true, false, false, true, true, false)),
-    EmptyString)))))))))))))))))))))))))))))))))))))))))))))))))))), (S (S (S
-    O))))) :: ((SStr ((String ((Ascii (true, true, true, true, false, false,
-    true, false)), (String ((Ascii (false, true, false, false, true, true,
-    true, false)), (String ((Ascii (true, false, false, true, false, true,
-    true, false)), (String ((Ascii (true, true, true, false, false, true,
-    true, false)), (String ((Ascii (true, false, false, true, false, true,
-    true, false)), (String ((Ascii (false, true, true, true, false, true,
-    true, false)), (String ((Ascii (true, false, false, false, false, true,
-    true, false)), (String ((Ascii (false, false, true, true, false, true,
-    true, false)), (String ((Ascii (true, false, true, false, false, false,
-    true, false)), (String ((Ascii (false, true, true, true, false, true,
-    true, false)), (String ((Ascii (false, false, true, false, true, true,
-    true, false)), (String ((Ascii (false, true, false, false, true, true,
-    true, false)), (String ((Ascii (true, false, false, true, true, true,
-    true, false)), (String ((Ascii (false, false, true, false, true, false,
-    true, false)), (String ((Ascii (false, true, false, false, true, true,
-    true, false)), (String ((Ascii (true, false, false, false, false, true,
-    true, false)), (String ((Ascii (true, true, false, false, false, true,
-    true, false)), (String ((Ascii (true, false, true, false, false, true,
-    true, false)), (String ((Ascii (false, true, true, true, false, false,
-    true, false)), (String ((Ascii (true, false, true, false, true, true,
-    true, false)), (String ((Ascii (true, false, true, true, false, true,
-    true, false)), (String ((Ascii (false, true, false, false, false, true,
-    true, false)), (String ((Ascii (true, false, true, false, false, true,
-    true, false)), (String ((Ascii (false, true, false, false, true, true,
-    true, false)),
-    EmptyString)))))))))))))))))))))))))))))))))))))))))))))))), (S (S (S (S
-    (S (S (S (S (S (S (S (S (S (S (S O))))))))))))))))) :: ((SLit ((Npos (XO
-    (XO (XO (XO (XO XH)))))) :: ((Npos (XO (XO (XO (XO (XO XH)))))) :: ((Npos
-    (XO (XO (XO (XO (XO XH)))))) :: ((Npos (XO (XO (XO (XO (XO
-    XH)))))) :: ((Npos (XO (XO (XO (XO (XO XH)))))) :: ((Npos (XO (XO (XO (XO
-    (XO XH)))))) :: []))))))) :: ((SStr ((String ((Ascii (true, true, true,
-    true, false, false, true, false)), (String ((Ascii (false, true, false,
-    false, true, true, true, false)), (String ((Ascii (true, false, false,
-    true, false, true, true, false)), (String ((Ascii (true, true, true,
-    false, false, true, true, false)), (String ((Ascii (true, false, false,
-    true, false, true, true, false)), (String ((Ascii (false, true, true,
-    true, false, true, true, false)), (String ((Ascii (true, false, false,
-    false, false, true, true, false)), (String ((Ascii (false, false, true,
-    true, false, true, true, false)), (String ((Ascii (false, true, false,
-    false, true, false, true, false)), (String ((Ascii (true, false, true,
-    false, false, true, true, false)), (String ((Ascii (true, true, false,
-    false, false, true, true, false)), (String ((Ascii (true, false, true,
-    false, false, true, true, false)), (String ((Ascii (true, false, false,
-    true, false, true, true, false)), (String ((Ascii (false, true, true,
-    false, true, true, true, false)), (String ((Ascii (true, false, false,
-    true, false, true, true, false)), (String ((Ascii (false, true, true,
-    true, false, true, true, false)), (String ((Ascii (true, true, true,
-    false, false, true, true, false)), (String ((Ascii (false, false, true,
-    false, false, false, true, false)), (String ((Ascii (false, true, true,
-    false, false, false, true, false)), (String ((Ascii (true, false, false,
-    true, false, false, true, false)), (String ((Ascii (true, false, false,
-    true, false, false, true, false)), (String ((Ascii (false, false, true,
-    false, false, true, true, false)), (String ((Ascii (true, false, true,
-    false, false, true, true, false)), (String ((Ascii (false, true, true,
-    true, false, true, true, false)), (String ((Ascii (false, false, true,
-    false, true, true, true, false)), (String ((Ascii (true, false, false,
-    true, false, true, true, false)), (String ((Ascii (false, true, true,
-    false, false, true, true, false)), (String ((Ascii (true, false, false,
-    true, false, true, true, false)), (String ((Ascii (true, true, false,
-    false, false, true, true, false)), (String ((Ascii (true, false, false,
-    false, false, true, true, false)), (String ((Ascii (false, false, true,
-    false, true, true, true, false)), (String ((Ascii (true, false, false,
-    true, false, true, true, false)), (String ((Ascii (true, true, true,
-    true, false, true, true, false)), (String ((Ascii (false, true, true,
-    true, false, true, true, false)),
-    EmptyString)))))))))))))))))))))))))))))))))))))))))))))))))))))))))))))))))))),
-    (S (S (S (S (S (S (S (S O)))))))))) :: ((SLit ((Npos (XO (XO (XO (XO (XO
-    XH)))))) :: ((Npos (XO (XO (XO (XO (XO XH)))))) :: ((Npos (XO (XO (XO (XO
-    (XO XH)))))) :: [])))) :: ((SStr ((String ((Ascii (false, true, false,
-    false, true, false, true, false)), (String ((Ascii (true, false, true,
-    false, false, true, true, false)), (String ((Ascii (false, false, true,
-    false, true, true, true, false)), (String ((Ascii (true, false, true,
-    false, true, true, true, false)), (String ((Ascii (false, true, false,
-    false, true, true, true, false)), (String ((Ascii (false, true, true,
-    true, false, true, true, false)), (String ((Ascii (false, false, true,
-    false, true, false, true, false)), (String ((Ascii (false, true, false,
-    false, true, true, true, false)), (String ((Ascii (true, false, false,
-    false, false, true, true, false)), (String ((Ascii (true, true, false,
-    false, false, true, true, false)), (String ((Ascii (true, false, true,
-    false, false, true, true, false)), (String ((Ascii (false, true, true,
-    true, false, false, true, false)), (String ((Ascii (true, false, true,
-    false, true, true, true, false)), (String ((Ascii (true, false, true,
-    true, false, true, true, false)), (String ((Ascii (false, true, false,
-    false, false, true, true, false)), (String ((Ascii (true, false, true,
-    false, false, true, true, false)), (String ((Ascii (false, true, false,
-    false, true, true, true, false)),
-    EmptyString)))))))))))))))))))))))))))))))))), (S (S (S (S (S (S (S (S (S
-    (S (S (S (S (S (S O))))))))))))))))) :: ((SStr ((String ((Ascii (false,
-    true, false, false, true, false, true, false)), (String ((Ascii (true,
-    false, true, false, false, true, true, false)), (String ((Ascii (false,
-    false, true, false, true, true, true, false)), (String ((Ascii (true,
-    false, true, false, true, true, true, false)), (String ((Ascii (false,
-    true, false, false, true, true, true, false)), (String ((Ascii (false,
-    true, true, true, false, true, true, false)), (String ((Ascii (true,
-    true, false, false, true, false, true, false)), (String ((Ascii (true,
-    false, true, false, false, true, true, false)), (String ((Ascii (false,
-    false, true, false, true, true, true, false)), (String ((Ascii (false,
-    false, true, false, true, true, true, false)), (String ((Ascii (false,
-    false, true, true, false, true, true, false)), (String ((Ascii (true,
-    false, true, false, false, true, true, false)), (String ((Ascii (true,
-    false, true, true, false, true, true, false)), (String ((Ascii (true,
-    false, true, false, false, true, true, false)), (String ((Ascii (false,
-    true, true, true, false, true, true, false)), (String ((Ascii (false,
-    false, true, false, true, true, true, false)), (String ((Ascii (false,
-    false, true, false, false, false, true, false)), (String ((Ascii (true,
-    false, false, false, false, true, true, false)), (String ((Ascii (false,
-    false, true, false, true, true, true, false)), (String ((Ascii (true,
-    false, true, false, false, true, true, false)),
-    EmptyString)))))))))))))))))))))))))))))))))))))))), (S (S (S
-    O))))) :: ((SStr ((String ((Ascii (false, true, false, false, true,
-    false, true, false)), (String ((Ascii (true, false, true, false, false,
-    true, true, false)), (String ((Ascii (false, false, true, false, true,
-    true, true, false)), (String ((Ascii (true, false, true, false, true,
-    true, true, false)), (String ((Ascii (false, true, false, false, true,
-    true, true, false)), (String ((Ascii (false, true, true, true, false,
-    true, true, false)), (String ((Ascii (false, true, false, false, true,
-    false, true, false)), (String ((Ascii (true, false, true, false, false,
-    true, true, false)), (String ((Ascii (true, false, false, false, false,
-    true, true, false)), (String ((Ascii (true, true, false, false, true,
-    true, true, false)), (String ((Ascii (true, true, true, true, false,
-    true, true, false)), (String ((Ascii (false, true, true, true, false,
-    true, true, false)), (String ((Ascii (true, true, false, false, false,
-    false, true, false)), (String ((Ascii (true, true, true, true, false,
-    true, true, false)), (String ((Ascii (false, false, true, false, false,
-    true, true, false)), (String ((Ascii (true, false, true, false, false,
-    true, true, false)), EmptyString)))))))))))))))))))))))))))))))), (S (S
-    O)))) :: ((SAlpha ((String ((Ascii (true, false, false, false, false,
-    false, true, false)), (String ((Ascii (false, false, true, false, false,
-    true, true, false)), (String ((Ascii (false, false, true, false, false,
-    true, true, false)), (String ((Ascii (true, false, true, false, false,
-    true, true, false)), (String ((Ascii (false, true, true, true, false,
-    true, true, false)), (String ((Ascii (false, false, true, false, false,
-    true, true, false)), (String ((Ascii (true, false, false, false, false,
-    true, true, false)), (String ((Ascii (true, false, false, true, false,
-    false, true, false)), (String ((Ascii (false, true, true, true, false,
-    true, true, false)), (String ((Ascii (false, true, true, false, false,
-    true, true, false)), (String ((Ascii (true, true, true, true, false,
-    true, true, false)), (String ((Ascii (false, true, false, false, true,
-    true, true, false)), (String ((Ascii (true, false, true, true, false,
-    true, true, false)), (String ((Ascii (true, false, false, false, false,
-    true, true, false)), (String ((Ascii (false, false, true, false, true,
-    true, true, false)), (String ((Ascii (true, false, false, true, false,
-    true, true, false)), (String ((Ascii (true, true, true, true, false,
-    true, true, false)), (String ((Ascii (false, true, true, true, false,
-    true, true, false)), EmptyString)))))))))))))))))))))))))))))))))))), (S
-    (S (S (S (S (S (S (S (S (S (S (S (S (S (S (S (S (S (S (S (S
-    O))))))))))))))))))))))) :: ((SStr ((String ((Ascii (false, false, true,
-    false, true, false, true, false)), (String ((Ascii (false, true, false,
-    false, true, true, true, false)), (String ((Ascii (true, false, false,
-    false, false, true, true, false)), (String ((Ascii (true, true, false,
-    false, false, true, true, false)), (String ((Ascii (true, false, true,
-    false, false, true, true, false)), (String ((Ascii (false, true, true,
-    true, false, false, true, false)), (String ((Ascii (true, false, true,
-    false, true, true, true, false)), (String ((Ascii (true, false, true,
-    true, false, true, true, false)), (String ((Ascii (false, true, false,
-    false, false, true, true, false)), (String ((Ascii (true, false, true,
-    false, false, true, true, false)), (String ((Ascii (false, true, false,
-    false, true, true, true, false)), EmptyString)))))))))))))))))))))), (S
-    (S (S (S (S (S (S (S (S (S (S (S (S (S (S
-    O))))))))))))))))) :: [])))))))))))); l_cuts =
-    ((mkcut O (S O) EmptyString []) :: ((mkcut (S O) (S (S (S O))) (String
-                                          ((Ascii (false, false, true, false,
-                                          true, false, true, false)), (String
-                                          ((Ascii (true, false, false, true,
-                                          true, true, true, false)), (String
-                                          ((Ascii (false, false, false,
-                                          false, true, true, true, false)),
-                                          (String ((Ascii (true, false, true,
-                                          false, false, true, true, false)),
-                                          (String ((Ascii (true, true, false,
-                                          false, false, false, true, false)),
-                                          (String ((Ascii (true, true, true,
-                                          true, false, true, true, false)),
-                                          (String ((Ascii (false, false,
-                                          true, false, false, true, true,
-                                          false)), (String ((Ascii (true,
-                                          false, true, false, false, true,
-                                          true, false)),
-                                          EmptyString)))))))))))))))) []) :: (
-    (mkcut (S (S (S O))) (S (S (S (S (S (S O)))))) (String ((Ascii (false,
-      false, true, false, false, false, true, false)), (String ((Ascii (true,
-      false, false, true, false, true, true, false)), (String ((Ascii (true,
-      true, false, false, true, true, true, false)), (String ((Ascii (false,
-      false, false, true, false, true, true, false)), (String ((Ascii (true,
-      true, true, true, false, true, true, false)), (String ((Ascii (false,
-      true, true, true, false, true, true, false)), (String ((Ascii (true,
-      true, true, true, false, true, true, false)), (String ((Ascii (false,
-      true, false, false, true, true, true, false)), (String ((Ascii (true,
-      false, true, false, false, true, true, false)), (String ((Ascii (false,
-      false, true, false, false, true, true, false)), (String ((Ascii (false,
-      true, false, false, true, false, true, false)), (String ((Ascii (true,
-      false, true, false, false, true, true, false)), (String ((Ascii (false,
-      false, true, false, true, true, true, false)), (String ((Ascii (true,
-      false, true, false, true, true, true, false)), (String ((Ascii (false,
-      true, false, false, true, true, true, false)), (String ((Ascii (false,
-      true, true, true, false, true, true, false)), (String ((Ascii (false,
-      true, false, false, true, false, true, false)), (String ((Ascii (true,
-      false, true, false, false, true, true, false)), (String ((Ascii (true,
-      false, false, false, false, true, true, false)), (String ((Ascii (true,
-      true, false, false, true, true, true, false)), (String ((Ascii (true,
-      true, true, true, false, true, true, false)), (String ((Ascii (false,
-      true, true, true, false, true, true, false)), (String ((Ascii (true,
-      true, false, false, false, false, true, false)), (String ((Ascii (true,
-      true, true, true, false, true, true, false)), (String ((Ascii (false,
-      false, true, false, false, true, true, false)), (String ((Ascii (true,
-      false, true, false, false, true, true, false)),
-      EmptyString)))))))))))))))))))))))))))))))))))))))))))))))))))) []) :: (
-    (mkcut (S (S (S (S (S (S O)))))) (S (S (S (S (S (S (S (S (S (S (S (S (S
-      (S (S (S (S (S (S (S (S O))))))))))))))))))))) (String ((Ascii (true,
-      true, true, true, false, false, true, false)), (String ((Ascii (false,
-      true, false, false, true, true, true, false)), (String ((Ascii (true,
-      false, false, true, false, true, true, false)), (String ((Ascii (true,
-      true, true, false, false, true, true, false)), (String ((Ascii (true,
-      false, false, true, false, true, true, false)), (String ((Ascii (false,
-      true, true, true, false, true, true, false)), (String ((Ascii (true,
-      false, false, false, false, true, true, false)), (String ((Ascii
-      (false, false, true, true, false, true, true, false)), (String ((Ascii
-      (true, false, true, false, false, false, true, false)), (String ((Ascii
-      (false, true, true, true, false, true, true, false)), (String ((Ascii
-      (false, false, true, false, true, true, true, false)), (String ((Ascii
-      (false, true, false, false, true, true, true, false)), (String ((Ascii
-      (true, false, false, true, true, true, true, false)), (String ((Ascii
-      (false, false, true, false, true, false, true, false)), (String ((Ascii
-      (false, true, false, false, true, true, true, false)), (String ((Ascii
-      (true, false, false, false, false, true, true, false)), (String ((Ascii
-      (true, true, false, false, false, true, true, false)), (String ((Ascii
-      (true, false, true, false, false, true, true, false)), (String ((Ascii
-      (false, true, true, true, false, false, true, false)), (String ((Ascii
-      (true, false, true, false, true, true, true, false)), (String ((Ascii
-      (true, false, true, true, false, true, true, false)), (String ((Ascii
-      (false, true, false, false, false, true, true, false)), (String ((Ascii
-      (true, false, true, false, false, true, true, false)), (String ((Ascii
-      (false, true, false, false, true, true, true, false)),
-      EmptyString)))))))))))))))))))))))))))))))))))))))))))))))) []) :: (
-    (mkcut (S (S (S (S (S (S (S (S (S (S (S (S (S (S (S (S (S (S (S (S (S
-      O))))))))))))))))))))) (S (S (S (S (S (S (S (S (S (S (S (S (S (S (S (S
-      (S (S (S (S (S (S (S (S (S (S (S O)))))))))))))))))))))))))))
-      EmptyString []) :: ((mkcut (S (S (S (S (S (S (S (S (S (S (S (S (S (S (S
-                            (S (S (S (S (S (S (S (S (S (S (S (S
-                            O))))))))))))))))))))))))))) (S (S (S (S (S (S (S
-                            (S (S (S (S (S (S (S (S (S (S (S (S (S (S (S (S
-                            (S (S (S (S (S (S (S (S (S (S (S (S
-                            O))))))))))))))))))))))))))))))))))) (String
-                            ((Ascii (true, true, true, true, false, false,
-                            true, false)), (String ((Ascii (false, true,
-                            false, false, true, true, true, false)), (String
-                            ((Ascii (true, false, false, true, false, true,
-                            true, false)), (String ((Ascii (true, true, true,
-                            false, false, true, true, false)), (String
-                            ((Ascii (true, false, false, true, false, true,
-                            true, false)), (String ((Ascii (false, true,
-                            true, true, false, true, true, false)), (String
-                            ((Ascii (true, false, false, false, false, true,
-                            true, false)), (String ((Ascii (false, false,
-                            true, true, false, true, true, false)), (String
-                            ((Ascii (false, true, false, false, true, false,
-                            true, false)), (String ((Ascii (true, false,
-                            true, false, false, true, true, false)), (String
-                            ((Ascii (true, true, false, false, false, true,
-                            true, false)), (String ((Ascii (true, false,
-                            true, false, false, true, true, false)), (String
-                            ((Ascii (true, false, false, true, false, true,
-                            true, false)), (String ((Ascii (false, true,
-                            true, false, true, true, true, false)), (String
-                            ((Ascii (true, false, false, true, false, true,
-                            true, false)), (String ((Ascii (false, true,
-                            true, true, false, true, true, false)), (String
-                            ((Ascii (true, true, true, false, false, true,
-                            true, false)), (String ((Ascii (false, false,
-                            true, false, false, false, true, false)), (String
-                            ((Ascii (false, true, true, false, false, false,
-                            true, false)), (String ((Ascii (true, false,
-                            false, true, false, false, true, false)), (String
-                            ((Ascii (true, false, false, true, false, false,
-                            true, false)), (String ((Ascii (false, false,
-                            true, false, false, true, true, false)), (String
-                            ((Ascii (true, false, true, false, false, true,
-                            true, false)), (String ((Ascii (false, true,
-                            true, true, false, true, true, false)), (String
-                            ((Ascii (false, false, true, false, true, true,
-                            true, false)), (String ((Ascii (true, false,
-                            false, true, false, true, true, false)), (String
-                            ((Ascii (false, true, true, false, false, true,
-                            true, false)), (String ((Ascii (true, false,
-                            false, true, false, true, true, false)), (String
-                            ((Ascii (true, true, false, false, false, true,
-                            true, false)), (String ((Ascii (true, false,
-                            false, false, false, true, true, false)), (String
-                            ((Ascii (false, false, true, false, true, true,
-                            true, false)), (String ((Ascii (true, false,
-                            false, true, false, true, true, false)), (String
-                            ((Ascii (true, true, true, true, false, true,
-                            true, false)), (String ((Ascii (false, true,
-                            true, true, false, true, true, false)),
-                            EmptyString))))))))))))))))))))))))))))))))))))))))))))))))))))))))))))))))))))
-                            []) :: ((mkcut (S (S (S (S (S (S (S (S (S (S (S
-                                      (S (S (S (S (S (S (S (S (S (S (S (S (S
-                                      (S (S (S (S (S (S (S (S (S (S (S
-                                      O))))))))))))))))))))))))))))))))))) (S
-                                      (S (S (S (S (S (S (S (S (S (S (S (S (S
-                                      (S (S (S (S (S (S (S (S (S (S (S (S (S
-                                      (S (S (S (S (S (S (S (S (S (S (S
-                                      O))))))))))))))))))))))))))))))))))))))
-                                      EmptyString []) :: ((mkcut (S (S (S (S
-                                                            (S (S (S (S (S (S
-                                                            (S (S (S (S (S (S
-                                                            (S (S (S (S (S (S
-                                                            (S (S (S (S (S (S
-                                                            (S (S (S (S (S (S
-                                                            (S (S (S (S
-                                                            O))))))))))))))))))))))))))))))))))))))
-                                                            (S (S (S (S (S (S
-                                                            (S (S (S (S (S (S
-                                                            (S (S (S (S (S (S
-                                                            (S (S (S (S (S (S
-                                                            (S (S (S (S (S (S
-                                                            (S (S (S (S (S (S
-                                                            (S (S (S (S (S (S
-                                                            (S (S (S (S (S (S
-                                                            (S (S (S (S (S
-                                                            O)))))))))))))))))))))))))))))))))))))))))))))))))))))
-                                                            (String ((Ascii
-                                                            (false, true,
-                                                            false, false,
-                                                            true, false,
-                                                            true, false)),
-                                                            (String ((Ascii
-                                                            (true, false,
-                                                            true, false,
-                                                            false, true,
-                                                            true, false)),
-                                                            (String ((Ascii
-                                                            (false, false,
-                                                            true, false,
-                                                            true, true, true,
-                                                            false)), (String
-                                                            ((Ascii (true,
-                                                            false, true,
-                                                            false, true,
-                                                            true, true,
-                                                            false)), (String
-                                                            ((Ascii (false,
-                                                            true, false,
-                                                            false, true,
-                                                            true, true,
-                                                            false)), (String
-                                                            ((Ascii (false,
-                                                            true, true, true,
-                                                            false, true,
-                                                            true, false)),
-                                                            (String ((Ascii
-                                                            (false, false,
-                                                            true, false,
-                                                            true, false,
-                                                            true, false)),
-                                                            (String ((Ascii
-                                                            (false, true,
-                                                            false, false,
-                                                            true, true, true,
-                                                            false)), (String
-                                                            ((Ascii (true,
-                                                            false, false,
-                                                            false, false,
-                                                            true, true,
-                                                            false)), (String
-                                                            ((Ascii (true,
-                                                            true, false,
-                                                            false, false,
-                                                            true, true,
-                                                            false)), (String
-                                                            ((Ascii (true,
-                                                            false, true,
-                                                            false, false,
-                                                            true, true,
-                                                            false)), (String
-                                                            ((Ascii (false,
-                                                            true, true, true,
-                                                            false, false,
-                                                            true, false)),
-                                                            (String ((Ascii
-                                                            (true, false,
-                                                            true, false,
-                                                            true, true, true,
-                                                            false)), (String
-                                                            ((Ascii (true,
-                                                            false, true,
-                                                            true, false,
-                                                            true, true,
-                                                            false)), (String
-                                                            ((Ascii (false,
-                                                            true, false,
-                                                            false, false,
-                                                            true, true,
-                                                            false)), (String
-                                                            ((Ascii (true,
-                                                            false, true,
-                                                            false, false,
-                                                            true, true,
-                                                            false)), (String
-                                                            ((Ascii (false,
-                                                            true, false,
-                                                            false, true,
-                                                            true, true,
-                                                            false)),
-                                                            EmptyString))))))))))))))))))))))))))))))))))
-                                                            []) :: ((mkcut (S
-                                                                    (S (S (S
-                                                                    (S (S (S
-                                                                    (S (S (S
-                                                                    (S (S (S
-                                                                    (S (S (S
-                                                                    (S (S (S
-                                                                    (S (S (S
-                                                                    (S (S (S
-                                                                    (S (S (S
-                                                                    (S (S (S
-                                                                    (S (S (S
-                                                                    (S (S (S
-                                                                    (S (S (S
-                                                                    (S (S (S
-                                                                    (S (S (S
-                                                                    (S (S (S
-                                                                    (S (S (S
-                                                                    (S
-                                                                    O)))))))))))))))))))))))))))))))))))))))))))))))))))))
-                                                                    (S (S (S
-                                                                    (S (S (S
-                                                                    (S (S (S
-                                                                    (S (S (S
-                                                                    (S (S (S
-                                                                    (S (S (S
-                                                                    (S (S (S
-                                                                    (S (S (S
-                                                                    (S (S (S
-                                                                    (S (S (S
-                                                                    (S (S (S
-                                                                    (S (S (S
-                                                                    (S (S (S
-                                                                    (S (S (S
-                                                                    (S (S (S
-                                                                    (S (S (S
-                                                                    (S (S (S
-                                                                    (S (S (S
-                                                                    (S (S
-                                                                    O))))))))))))))))))))))))))))))))))))))))))))))))))))))))
-                                                                    (String
-                                                                    ((Ascii
-                                                                    (false,
-                                                                    true,
-                                                                    false,
-                                                                    false,
-                                                                    true,
-                                                                    false,
-                                                                    true,
-                                                                    false)),
-                                                                    (String
-                                                                    ((Ascii
-                                                                    (true,
-                                                                    false,
-                                                                    true,
-                                                                    false,
-                                                                    false,
-                                                                    true,
-                                                                    true,
-                                                                    false)),
-                                                                    (String
-                                                                    ((Ascii
-                                                                    (false,
-                                                                    false,
-                                                                    true,
-                                                                    false,
-                                                                    true,
-                                                                    true,
-                                                                    true,
-                                                                    false)),
-                                                                    (String
-                                                                    ((Ascii
-                                                                    (true,
-                                                                    false,
-                                                                    true,
-                                                                    false,
-                                                                    true,
-                                                                    true,
-                                                                    true,
-                                                                    false)),
-                                                                    (String
-                                                                    ((Ascii
-                                                                    (false,
-                                                                    true,
-                                                                    false,
-                                                                    false,
-                                                                    true,
-                                                                    true,
-                                                                    true,
-                                                                    false)),
-                                                                    (String
-                                                                    ((Ascii
-                                                                    (false,
-                                                                    true,
-                                                                    true,
-                                                                    true,
-                                                                    false,
-                                                                    true,
-                                                                    true,
-                                                                    false)),
-                                                                    (String
-                                                                    ((Ascii
-                                                                    (true,
-                                                                    true,
-                                                                    false,
-                                                                    false,
-                                                                    true,
-                                                                    false,
-                                                                    true,
-                                                                    false)),
-                                                                    (String
-                                                                    ((Ascii
-                                                                    (true,
-                                                                    false,
-                                                                    true,
-                                                                    false,
-                                                                    false,
-                                                                    true,
-                                                                    true,
-                                                                    false)),
-                                                                    (String
-                                                                    ((Ascii
-                                                                    (false,
-                                                                    false,
-                                                                    true,
-                                                                    false,
-                                                                    true,
-                                                                    true,
-                                                                    true,
-                                                                    false)),
-                                                                    (String
-                                                                    ((Ascii
-                                                                    (false,
-                                                                    false,
-                                                                    true,
-                                                                    false,
-                                                                    true,
-                                                                    true,
-                                                                    true,
-                                                                    false)),
-                                                                    (String
-                                                                    ((Ascii
-                                                                    (false,
-                                                                    false,
-                                                                    true,
-                                                                    true,
-                                                                    false,
-                                                                    true,
-                                                                    true,
-                                                                    false)),
-                                                                    (String
-                                                                    ((Ascii
-                                                                    (true,
-                                                                    false,
-                                                                    true,
-                                                                    false,
-                                                                    false,
-                                                                    true,
-                                                                    true,
-                                                                    false)),
-                                                                    (String
-                                                                    ((Ascii
-                                                                    (true,
-                                                                    false,
-                                                                    true,
-                                                                    true,
-                                                                    false,
-                                                                    true,
-                                                                    true,
-                                                                    false)),
-                                                                    (String
-                                                                    ((Ascii
-                                                                    (true,
-                                                                    false,
-                                                                    true,
-                                                                    false,
-                                                                    false,
-                                                                    true,
-                                                                    true,
-                                                                    false)),
-                                                                    (String
-                                                                    ((Ascii
-                                                                    (false,
-                                                                    true,
-                                                                    true,
-                                                                    true,
-                                                                    false,
-                                                                    true,
-                                                                    true,
-                                                                    false)),
-                                                                    (String
-                                                                    ((Ascii
-                                                                    (false,
-                                                                    false,
-                                                                    true,
-                                                                    false,
-                                                                    true,
-                                                                    true,
-                                                                    true,
-                                                                    false)),
-                                                                    (String
-                                                                    ((Ascii
-                                                                    (false,
-                                                                    false,
-                                                                    true,
-                                                                    false,
-                                                                    false,
-                                                                    false,
-                                                                    true,
-                                                                    false)),
-                                                                    (String
-                                                                    ((Ascii
-                                                                    (true,
-                                                                    false,
-                                                                    false,
-                                                                    false,
-                                                                    false,
-                                                                    true,
-                                                                    true,
-                                                                    false)),
-                                                                    (String
-                                                                    ((Ascii
-                                                                    (false,
-                                                                    false,
-                                                                    true,
-                                                                    false,
-                                                                    true,
-                                                                    true,
-                                                                    true,
-                                                                    false)),
-                                                                    (String
-                                                                    ((Ascii
-                                                                    (true,
-                                                                    false,
-                                                                    true,
-                                                                    false,
-                                                                    false,
-                                                                    true,
-                                                                    true,
-                                                                    false)),
-                                                                    EmptyString))))))))))))))))))))))))))))))))))))))))
-                                                                    []) :: (
-    (mkcut (S (S (S (S (S (S (S (S (S (S (S (S (S (S (S (S (S (S (S (S (S (S
-      (S (S (S (S (S (S (S (S (S (S (S (S (S (S (S (S (S (S (S (S (S (S (S (S
-      (S (S (S (S (S (S (S (S (S (S
-      O)))))))))))))))))))))))))))))))))))))))))))))))))))))))) (S (S (S (S
-      (S (S (S (S (S (S (S (S (S (S (S (S (S (S (S (S (S (S (S (S (S (S (S (S
-      (S (S (S (S (S (S (S (S (S (S (S (S (S (S (S (S (S (S (S (S (S (S (S (S
-      (S (S (S (S (S (S
-      O)))))))))))))))))))))))))))))))))))))))))))))))))))))))))) (String
-      ((Ascii (false, true, false, false, true, false, true, false)), (String
-      ((Ascii (true, false, true, false, false, true, true, false)), (String
-      ((Ascii (false, false, true, false, true, true, true, false)), (String
-      ((Ascii (true, false, true, false, true, true, true, false)), (String
-      ((Ascii (false, true, false, false, true, true, true, false)), (String
-      ((Ascii (false, true, true, true, false, true, true, false)), (String
-      ((Ascii (false, true, false, false, true, false, true, false)), (String
-      ((Ascii (true, false, true, false, false, true, true, false)), (String
-      ((Ascii (true, false, false, false, false, true, true, false)), (String
-      ((Ascii (true, true, false, false, true, true, true, false)), (String
-      ((Ascii (true, true, true, true, false, true, true, false)), (String
-      ((Ascii (false, true, true, true, false, true, true, false)), (String
-      ((Ascii (true, true, false, false, false, false, true, false)), (String
-      ((Ascii (true, true, true, true, false, true, true, false)), (String
-      ((Ascii (false, false, true, false, false, true, true, false)), (String
-      ((Ascii (true, false, true, false, false, true, true, false)),
-      EmptyString)))))))))))))))))))))))))))))))) []) :: ((mkcut (S (S (S (S
-                                                            (S (S (S (S (S (S
-                                                            (S (S (S (S (S (S
-                                                            (S (S (S (S (S (S
-                                                            (S (S (S (S (S (S
-                                                            (S (S (S (S (S (S
-                                                            (S (S (S (S (S (S
-                                                            (S (S (S (S (S (S
-                                                            (S (S (S (S (S (S
-                                                            (S (S (S (S (S (S
-                                                            O))))))))))))))))))))))))))))))))))))))))))))))))))))))))))
-                                                            (S (S (S (S (S (S
-                                                            (S (S (S (S (S (S
-                                                            (S (S (S (S (S (S
-                                                            (S (S (S (S (S (S
-                                                            (S (S (S (S (S (S
-                                                            (S (S (S (S (S (S
-                                                            (S (S (S (S (S (S
-                                                            (S (S (S (S (S (S
-                                                            (S (S (S (S (S (S
-                                                            (S (S (S (S (S (S
-                                                            (S (S (S (S (S (S
-                                                            (S (S (S (S (S (S
-                                                            (S (S (S (S (S (S
-                                                            (S
-                                                            O)))))))))))))))))))))))))))))))))))))))))))))))))))))))))))))))))))))))))))))))
-                                                            (String ((Ascii
-                                                            (true, false,
-                                                            false, false,
-                                                            false, false,
-                                                            true, false)),
-                                                            (String ((Ascii
-                                                            (false, false,
-                                                            true, false,
-                                                            false, true,
-                                                            true, false)),
-                                                            (String ((Ascii
-                                                            (false, false,
-                                                            true, false,
-                                                            false, true,
-                                                            true, false)),
-                                                            (String ((Ascii
-                                                            (true, false,
-                                                            true, false,
-                                                            false, true,
-                                                            true, false)),
-                                                            (String ((Ascii
-                                                            (false, true,
-                                                            true, true,
-                                                            false, true,
-                                                            true, false)),
-                                                            (String ((Ascii
-                                                            (false, false,
-                                                            true, false,
-                                                            false, true,
-                                                            true, false)),
-                                                            (String ((Ascii
-                                                            (true, false,
-                                                            false, false,
-                                                            false, true,
-                                                            true, false)),
-                                                            (String ((Ascii
-                                                            (true, false,
-                                                            false, true,
-                                                            false, false,
-                                                            true, false)),
-                                                            (String ((Ascii
-                                                            (false, true,
-                                                            true, true,
-                                                            false, true,
-                                                            true, false)),
-                                                            (String ((Ascii
-                                                            (false, true,
-                                                            true, false,
-                                                            false, true,
-                                                            true, false)),
-                                                            (String ((Ascii
-                                                            (true, true,
-                                                            true, true,
-                                                            false, true,
-                                                            true, false)),
-                                                            (String ((Ascii
-                                                            (false, true,
-                                                            false, false,
-                                                            true, true, true,
-                                                            false)), (String
-                                                            ((Ascii (true,
-                                                            false, true,
-                                                            true, false,
-                                                            true, true,
-                                                            false)), (String
-                                                            ((Ascii (true,
-                                                            false, false,
-                                                            false, false,
-                                                            true, true,
-                                                            false)), (String
-                                                            ((Ascii (false,
-                                                            false, true,
-                                                            false, true,
-                                                            true, true,
-                                                            false)), (String
-                                                            ((Ascii (true,
-                                                            false, false,
-                                                            true, false,
-                                                            true, true,
-                                                            false)), (String
-                                                            ((Ascii (true,
-                                                            true, true, true,
-                                                            false, true,
-                                                            true, false)),
-                                                            (String ((Ascii
-                                                            (false, true,
-                                                            true, true,
-                                                            false, true,
-                                                            true, false)),
-                                                            EmptyString))))))))))))))))))))))))))))))))))))
-                                                            []) :: ((mkcut (S
-                                                                    (S (S (S
-                                                                    (S (S (S
-                                                                    (S (S (S
-                                                                    (S (S (S
-                                                                    (S (S (S
-                                                                    (S (S (S
-                                                                    (S (S (S
-                                                                    (S (S (S
-                                                                    (S (S (S
-                                                                    (S (S (S
-                                                                    (S (S (S
-                                                                    (S (S (S
-                                                                    (S (S (S
-                                                                    (S (S (S
-                                                                    (S (S (S
-                                                                    (S (S (S
-                                                                    (S (S (S
-                                                                    (S (S (S
-                                                                    (S (S (S
-                                                                    (S (S (S
-                                                                    (S (S (S
-                                                                    (S (S (S
-                                                                    (S (S (S
-                                                                    (S (S (S
-                                                                    (S (S (S
-                                                                    (S (S (S
-                                                                    O)))))))))))))))))))))))))))))))))))))))))))))))))))))))))))))))))))))))))))))))
-                                                                    (S (S (S
-                                                                    (S (S (S
-                                                                    (S (S (S
-                                                                    (S (S (S
-                                                                    (S (S (S
-                                                                    (S (S (S
-                                                                    (S (S (S
-                                                                    (S (S (S
-                                                                    (S (S (S
-                                                                    (S (S (S
-                                                                    (S (S (S
-                                                                    (S (S (S
-                                                                    (S (S (S
-                                                                    (S (S (S
-                                                                    (S (S (S
-                                                                    (S (S (S
-                                                                    (S (S (S
-                                                                    (S (S (S
-                                                                    (S (S (S
-                                                                    (S (S (S
-                                                                    (S (S (S
-                                                                    (S (S (S
-                                                                    (S (S (S
-                                                                    (S (S (S
-                                                                    (S (S (S
-                                                                    (S (S (S
-                                                                    (S (S (S
-                                                                    (S (S (S
-                                                                    (S (S (S
-                                                                    (S (S (S
-                                                                    (S (S (S
-                                                                    (S
-                                                                    O))))))))))))))))))))))))))))))))))))))))))))))))))))))))))))))))))))))))))))))))))))))))))))))
-                                                                    (String
-                                                                    ((Ascii
-                                                                    (false,
-                                                                    false,
-                                                                    true,
-                                                                    false,
-                                                                    true,
-                                                                    false,
-                                                                    true,
-                                                                    false)),
-                                                                    (String
-                                                                    ((Ascii
-                                                                    (false,
-                                                                    true,
-                                                                    false,
-                                                                    false,
-                                                                    true,
-                                                                    true,
-                                                                    true,
-                                                                    false)),
-                                                                    (String
-                                                                    ((Ascii
-                                                                    (true,
-                                                                    false,
-                                                                    false,
-                                                                    false,
-                                                                    false,
-                                                                    true,
-                                                                    true,
-                                                                    false)),
-                                                                    (String
-                                                                    ((Ascii
-                                                                    (true,
-                                                                    true,
-                                                                    false,
-                                                                    false,
-                                                                    false,
-                                                                    true,
-                                                                    true,
-                                                                    false)),
-                                                                    (String
-                                                                    ((Ascii
-                                                                    (true,
-                                                                    false,
-                                                                    true,
-                                                                    false,
-                                                                    false,
-                                                                    true,
-                                                                    true,
-                                                                    false)),
-                                                                    (String
-                                                                    ((Ascii
-                                                                    (false,
-                                                                    true,
-                                                                    true,
-                                                                    true,
-                                                                    false,
-                                                                    false,
-                                                                    true,
-                                                                    false)),
-                                                                    (String
-                                                                    ((Ascii
-                                                                    (true,
-                                                                    false,
-                                                                    true,
-                                                                    false,
-                                                                    true,
-                                                                    true,
-                                                                    true,
-                                                                    false)),
-                                                                    (String
-                                                                    ((Ascii
-                                                                    (true,
-                                                                    false,
-                                                                    true,
-                                                                    true,
-                                                                    false,
-                                                                    true,
-                                                                    true,
-                                                                    false)),
-                                                                    (String
-                                                                    ((Ascii
-                                                                    (false,
-                                                                    true,
-                                                                    false,
-                                                                    false,
-                                                                    false,
-                                                                    true,
-                                                                    true,
-                                                                    false)),
-                                                                    (String
-                                                                    ((Ascii
-                                                                    (true,
-                                                                    false,
-                                                                    true,
-                                                                    false,
-                                                                    false,
-                                                                    true,
-                                                                    true,
-                                                                    false)),
-                                                                    (String
-                                                                    ((Ascii
-                                                                    (false,
-                                                                    true,
-                                                                    false,
-                                                                    false,
-                                                                    true,
-                                                                    true,
-                                                                    true,
-                                                                    false)),
-                                                                    EmptyString))))))))))))))))))))))
-                                                                    []) :: [])))))))))))) }
-
-(** val l_BatchControl : layout **)
-
-let l_BatchControl =
-  { l_name = (String ((Ascii (false, true, false, false, false, false, true,
-    false)), (String ((Ascii (true, false, false, false, false, true, true,
-    false)), (String ((Ascii (false, false, true, false, true, true, true,
-    false)), (String ((Ascii (true, true, false, false, false, true, true,
-    false)), (String ((Ascii (false, false, false, true, false, true, true,
-    false)), (String ((Ascii (true, true, false, false, false, false, true,
-    false)), (String ((Ascii (true, true, true, true, false, true, true,
-    false)), (String ((Ascii (false, true, true, true, false, true, true,
-    false)), (String ((Ascii (false, false, true, false, true, true, true,
-    false)), (String ((Ascii (false, true, false, false, true, true, true,
-    false)), (String ((Ascii (true, true, true, true, false, true, true,
-    false)), (String ((Ascii (false, false, true, true, false, true, true,
-    false)), EmptyString)))))))))))))))))))))))); l_ix = IByte; l_segs =
-    ((SLit ((Npos (XO (XO (XO (XI (XI XH)))))) :: [])) :: ((SItoa (String
-    ((Ascii (true, true, false, false, true, false, true, false)), (String
-    ((Ascii (true, false, true, false, false, true, true, false)), (String
-    ((Ascii (false, true, false, false, true, true, true, false)), (String
-    ((Ascii (false, true, true, false, true, true, true, false)), (String
-    ((Ascii (true, false, false, true, false, true, true, false)), (String
-    ((Ascii (true, true, false, false, false, true, true, false)), (String
-    ((Ascii (true, false, true, false, false, true, true, false)), (String
-    ((Ascii (true, true, false, false, false, false, true, false)), (String
-    ((Ascii (false, false, true, true, false, true, true, false)), (String
-    ((Ascii (true, false, false, false, false, true, true, false)), (String
-    ((Ascii (true, true, false, false, true, true, true, false)), (String
-    ((Ascii (true, true, false, false, true, true, true, false)), (String
-    ((Ascii (true, true, false, false, false, false, true, false)), (String
-    ((Ascii (true, true, true, true, false, true, true, false)), (String
-    ((Ascii (false, false, true, false, false, true, true, false)), (String
-    ((Ascii (true, false, true, false, false, true, true, false)),
-    EmptyString))))))))))))))))))))))))))))))))) :: ((SNum ((String ((Ascii
-    (true, false, true, false, false, false, true, false)), (String ((Ascii
-    (false, true, true, true, false, true, true, false)), (String ((Ascii
-    (false, false, true, false, true, true, true, false)), (String ((Ascii
-    (false, true, false, false, true, true, true, false)), (String ((Ascii
-    (true, false, false, true, true, true, true, false)), (String ((Ascii
-    (true, false, false, false, false, false, true, false)), (String ((Ascii
-    (false, false, true, false, false, true, true, false)), (String ((Ascii
-    (false, false, true, false, false, true, true, false)), (String ((Ascii
-    (true, false, true, false, false, true, true, false)), (String ((Ascii
-    (false, true, true, true, false, true, true, false)), (String ((Ascii
-    (false, false, true, false, false, true, true, false)), (String ((Ascii
-    (true, false, false, false, false, true, true, false)), (String ((Ascii
-    (true, true, false, false, false, false, true, false)), (String ((Ascii
-    (true, true, true, true, false, true, true, false)), (String ((Ascii
-    (true, false, true, false, true, true, true, false)), (String ((Ascii
-    (false, true, true, true, false, true, true, false)), (String ((Ascii
-    (false, false, true, false, true, true, true, false)),
-    EmptyString)))))))))))))))))))))))))))))))))), (S (S (S (S (S (S
-    O)))))))) :: ((SNum ((String ((Ascii (true, false, true, false, false,
-    false, true, false)), (String ((Ascii (false, true, true, true, false,
-    true, true, false)), (String ((Ascii (false, false, true, false, true,
-    true, true, false)), (String ((Ascii (false, true, false, false, true,
-    true, true, false)), (String ((Ascii (true, false, false, true, true,
-    true, true, false)), (String ((Ascii (false, false, false, true, false,
-    false, true, false)), (String ((Ascii (true, false, false, false, false,
-    true, true, false)), (String ((Ascii (true, true, false, false, true,
-    true, true, false)), (String ((Ascii (false, false, false, true, false,
-    true, true, false)), EmptyString)))))))))))))))))), (S (S (S (S (S (S (S
-    (S (S (S O)))))))))))) :: ((SNum ((String ((Ascii (false, false, true,
-    false, true, false, true, false)), (String ((Ascii (true, true, true,
-    true, false, true, true, false)), (String ((Ascii (false, false, true,
-    false, true, true, true, false)), (String ((Ascii (true, false, false,
-    false, false, true, true, false)), (String ((Ascii (false, false, true,
-    true, false, true, true, false)), (String ((Ascii (false, false, true,
-    false, false, false, true, false)), (String ((Ascii (true, false, true,
-    false, false, true, true, false)), (String ((Ascii (false, true, false,
-    false, false, true, true, false)), (String ((Ascii (true, false, false,
-    true, false, true, true, false)), (String ((Ascii (false, false, true,
-    false, true, true, true, false)), (String ((Ascii (true, false, true,
-    false, false, false, true, false)), (String ((Ascii (false, true, true,
-    true, false, true, true, false)), (String ((Ascii (false, false, true,
-    false, true, true, true, false)), (String ((Ascii (false, true, false,
-    false, true, true, true, false)), (String ((Ascii (true, false, false,
-    true, true, true, true, false)), (String ((Ascii (false, false, true,
-    false, false, false, true, false)), (String ((Ascii (true, true, true,
-    true, false, true, true, false)), (String ((Ascii (false, false, true,
-    true, false, true, true, false)), (String ((Ascii (false, false, true,
-    true, false, true, true, false)), (String ((Ascii (true, false, false,
-    false, false, true, true, false)), (String ((Ascii (false, true, false,
-    false, true, true, true, false)), (String ((Ascii (true, false, false,
-    false, false, false, true, false)), (String ((Ascii (true, false, true,
-    true, false, true, true, false)), (String ((Ascii (true, true, true,
-    true, false, true, true, false)), (String ((Ascii (true, false, true,
-    false, true, true, true, false)), (String ((Ascii (false, true, true,
-    true, false, true, true, false)), (String ((Ascii (false, false, true,
-    false, true, true, true, false)),
-    EmptyString)))))))))))))))))))))))))))))))))))))))))))))))))))))), (S (S
-    (S (S (S (S (S (S (S (S (S (S O)))))))))))))) :: ((SNum ((String ((Ascii
-    (false, false, true, false, true, false, true, false)), (String ((Ascii
-    (true, true, true, true, false, true, true, false)), (String ((Ascii
-    (false, false, true, false, true, true, true, false)), (String ((Ascii
-    (true, false, false, false, false, true, true, false)), (String ((Ascii
-    (false, false, true, true, false, true, true, false)), (String ((Ascii
-    (true, true, false, false, false, false, true, false)), (String ((Ascii
-    (false, true, false, false, true, true, true, false)), (String ((Ascii
-    (true, false, true, false, false, true, true, false)), (String ((Ascii
-    (false, false, true, false, false, true, true, false)), (String ((Ascii
-    (true, false, false, true, false, true, true, false)), (String ((Ascii
-    (false, false, true, false, true, true, true, false)), (String ((Ascii
-    (true, false, true, false, false, false, true, false)), (String ((Ascii
-    (false, true, true, true, false, true, true, false)), (String ((Ascii
-    (false, false, true, false, true, true, true, false)), (String ((Ascii
-    (false, true, false, false, true, true, true, false)), (String ((Ascii
-    (true, false, false, true, true, true, true, false)), (String ((Ascii
-    (false, false, true, false, false, false, true, false)), (String ((Ascii
-    (true, true, true, true, false, true, true, false)), (String ((Ascii
-    (false, false, true, true, false, true, true, false)), (String ((Ascii
-    (false, false, true, true, false, true, true, false)), (String ((Ascii
-    (true, false, false, false, false, true, true, false)), (String ((Ascii
-    (false, true, false, false, true, true, true, false)), (String ((Ascii
-    (true, false, false, false, false, false, true, false)), (String ((Ascii
-    (true, false, true, true, false, true, true, false)), (String ((Ascii
-    (true, true, true, true, false, true, true, false)), (String ((Ascii
-    (true, false, true, false, true, true, true, false)), (String ((Ascii
-    (false, true, true, true, false, true, true, false)), (String ((Ascii
-    (false, false, true, false, true, true, true, false)),
-    EmptyString)))))))))))))))))))))))))))))))))))))))))))))))))))))))), (S
-    (S (S (S (S (S (S (S (S (S (S (S O)))))))))))))) :: ((SAlpha ((String
-    ((Ascii (true, true, false, false, false, false, true, false)), (String
-    ((Ascii (true, true, true, true, false, true, true, false)), (String
-    ((Ascii (true, false, true, true, false, true, true, false)), (String
-    ((Ascii (false, false, false, false, true, true, true, false)), (String
-    ((Ascii (true, false, false, false, false, true, true, false)), (String
-    ((Ascii (false, true, true, true, false, true, true, false)), (String
-    ((Ascii (true, false, false, true, true, true, true, false)), (String
-    ((Ascii (true, false, false, true, false, false, true, false)), (String
-    ((Ascii (false, false, true, false, false, true, true, false)), (String
-    ((Ascii (true, false, true, false, false, true, true, false)), (String
-    ((Ascii (false, true, true, true, false, true, true, false)), (String
-    ((Ascii (false, false, true, false, true, true, true, false)), (String
-    ((Ascii (true, false, false, true, false, true, true, false)), (String
-    ((Ascii (false, true, true, false, false, true, true, false)), (String
-    ((Ascii (true, false, false, true, false, true, true, false)), (String
-    ((Ascii (true, true, false, false, false, true, true, false)), (String
-    ((Ascii (true, false, false, false, false, true, true, false)), (String
-    ((Ascii (false, false, true, false, true, true, true, false)), (String
-    ((Ascii (true, false, false, true, false, true, true, false)), (String
-    ((Ascii (true, true, true, true, false, true, true, false)), (String
-    ((Ascii (false, true, true, true, false, true, true, false)),
-    EmptyString)))))))))))))))))))))))))))))))))))))))))), (S (S (S (S (S (S
-    (S (S (S (S O)))))))))))) :: ((SAlpha ((String ((Ascii (true, false,
-    true, true, false, false, true, false)), (String ((Ascii (true, false,
-    true, false, false, true, true, false)), (String ((Ascii (true, true,
-    false, false, true, true, true, false)), (String ((Ascii (true, true,
-    false, false, true, true, true, false)), (String ((Ascii (true, false,
-    false, false, false, true, true, false)), (String ((Ascii (true, true,
-    true, false, false, true, true, false)), (String ((Ascii (true, false,
-    true, false, false, true, true, false)), (String ((Ascii (true, false,
-    false, false, false, false, true, false)), (String ((Ascii (true, false,
-    true, false, true, true, true, false)), (String ((Ascii (false, false,
-    true, false, true, true, true, false)), (String ((Ascii (false, false,
-    false, true, false, true, true, false)), (String ((Ascii (true, false,
-    true, false, false, true, true, false)), (String ((Ascii (false, true,
-    true, true, false, true, true, false)), (String ((Ascii (false, false,
-    true, false, true, true, true, false)), (String ((Ascii (true, false,
-    false, true, false, true, true, false)), (String ((Ascii (true, true,
-    false, false, false, true, true, false)), (String ((Ascii (true, false,
-    false, false, false, true, true, false)), (String ((Ascii (false, false,
-    true, false, true, true, true, false)), (String ((Ascii (true, false,
-    false, true, false, true, true, false)), (String ((Ascii (true, true,
-    true, true, false, true, true, false)), (String ((Ascii (false, true,
-    true, true, false, true, true, false)), (String ((Ascii (true, true,
-    false, false, false, false, true, false)), (String ((Ascii (true, true,
-    true, true, false, true, true, false)), (String ((Ascii (false, false,
-    true, false, false, true, true, false)), (String ((Ascii (true, false,
-    true, false, false, true, true, false)),
-    EmptyString)))))))))))))))))))))))))))))))))))))))))))))))))), (S (S (S
-    (S (S (S (S (S (S (S (S (S (S (S (S (S (S (S (S
-    O))))))))))))))))))))) :: ((SLit ((Npos (XO (XO (XO (XO (XO
-    XH)))))) :: ((Npos (XO (XO (XO (XO (XO XH)))))) :: ((Npos (XO (XO (XO (XO
-    (XO XH)))))) :: ((Npos (XO (XO (XO (XO (XO XH)))))) :: ((Npos (XO (XO (XO
-    (XO (XO XH)))))) :: ((Npos (XO (XO (XO (XO (XO
-    XH)))))) :: []))))))) :: ((SStr ((String ((Ascii (true, true, true, true,
-    false, false, true, false)), (String ((Ascii (false, false, true, false,
-    false, false, true, false)), (String ((Ascii (false, true, true, false,
-    false, false, true, false)), (String ((Ascii (true, false, false, true,
-    false, false, true, false)), (String ((Ascii (true, false, false, true,
-    false, false, true, false)), (String ((Ascii (false, false, true, false,
-    false, true, true, false)), (String ((Ascii (true, false, true, false,
-    false, true, true, false)), (String ((Ascii (false, true, true, true,
-    false, true, true, false)), (String ((Ascii (false, false, true, false,
-    true, true, true, false)), (String ((Ascii (true, false, false, true,
-    false, true, true, false)), (String ((Ascii (false, true, true, false,
-    false, true, true, false)), (String ((Ascii (true, false, false, true,
-    false, true, true, false)), (String ((Ascii (true, true, false, false,
-    false, true, true, false)), (String ((Ascii (true, false, false, false,
-    false, true, true, false)), (String ((Ascii (false, false, true, false,
-    true, true, true, false)), (String ((Ascii (true, false, false, true,
-    false, true, true, false)), (String ((Ascii (true, true, true, true,
-    false, true, true, false)), (String ((Ascii (false, true, true, true,
-    false, true, true, false)),
-    EmptyString)))))))))))))))))))))))))))))))))))), (S (S (S (S (S (S (S (S
-    O)))))))))) :: ((SNum ((String ((Ascii (false, true, false, false, false,
-    false, true, false)), (String ((Ascii (true, false, false, false, false,
-    true, true, false)), (String ((Ascii (false, false, true, false, true,
-    true, true, false)), (String ((Ascii (true, true, false, false, false,
-    true, true, false)), (String ((Ascii (false, false, false, true, false,
-    true, true, false)), (String ((Ascii (false, true, true, true, false,
-    false, true, false)), (String ((Ascii (true, false, true, false, true,
-    true, true, false)), (String ((Ascii (true, false, true, true, false,
-    true, true, false)), (String ((Ascii (false, true, false, false, false,
-    true, true, false)), (String ((Ascii (true, false, true, false, false,
-    true, true, false)), (String ((Ascii (false, true, false, false, true,
-    true, true, false)), EmptyString)))))))))))))))))))))), (S (S (S (S (S (S
-    (S O))))))))) :: []))))))))))); l_cuts =
-    ((mkcut (S O) (S (S (S (S O)))) (String ((Ascii (true, true, false,
-       false, true, false, true, false)), (String ((Ascii (true, false, true,
-       false, false, true, true, false)), (String ((Ascii (false, true,
-       false, false, true, true, true, false)), (String ((Ascii (false, true,
-       true, false, true, true, true, false)), (String ((Ascii (true, false,
-       false, true, false, true, true, false)), (String ((Ascii (true, true,
-       false, false, false, true, true, false)), (String ((Ascii (true,
-       false, true, false, false, true, true, false)), (String ((Ascii (true,
-       true, false, false, false, false, true, false)), (String ((Ascii
-       (false, false, true, true, false, true, true, false)), (String ((Ascii
-       (true, false, false, false, false, true, true, false)), (String
-       ((Ascii (true, true, false, false, true, true, true, false)), (String
-       ((Ascii (true, true, false, false, true, true, true, false)), (String
-       ((Ascii (true, true, false, false, false, false, true, false)),
-       (String ((Ascii (true, true, true, true, false, true, true, false)),
-       (String ((Ascii (false, false, true, false, false, true, true,
-       false)), (String ((Ascii (true, false, true, false, false, true, true,
-       false)), EmptyString)))))))))))))))))))))))))))))))) ((String ((Ascii
-       (false, false, false, false, true, true, true, false)), (String
-       ((Ascii (true, false, false, false, false, true, true, false)),
-       (String ((Ascii (false, true, false, false, true, true, true, false)),
-       (String ((Ascii (true, true, false, false, true, true, true, false)),
-       (String ((Ascii (true, false, true, false, false, true, true, false)),
-       (String ((Ascii (false, true, true, true, false, false, true, false)),
-       (String ((Ascii (true, false, true, false, true, true, true, false)),
-       (String ((Ascii (true, false, true, true, false, true, true, false)),
-       (String ((Ascii (false, true, true, false, false, false, true,
-       false)), (String ((Ascii (true, false, false, true, false, true, true,
-       false)), (String ((Ascii (true, false, true, false, false, true, true,
-       false)), (String ((Ascii (false, false, true, true, false, true, true,
-       false)), (String ((Ascii (false, false, true, false, false, true,
-       true, false)), EmptyString)))))))))))))))))))))))))) :: [])) :: (
-    (mkcut (S (S (S (S O)))) (S (S (S (S (S (S (S (S (S (S O))))))))))
-      (String ((Ascii (true, false, true, false, false, false, true, false)),
-      (String ((Ascii (false, true, true, true, false, true, true, false)),
-      (String ((Ascii (false, false, true, false, true, true, true, false)),
-      (String ((Ascii (false, true, false, false, true, true, true, false)),
-      (String ((Ascii (true, false, false, true, true, true, true, false)),
-      (String ((Ascii (true, false, false, false, false, false, true,
-      false)), (String ((Ascii (false, false, true, false, false, true, true,
-      false)), (String ((Ascii (false, false, true, false, false, true, true,
-      false)), (String ((Ascii (true, false, true, false, false, true, true,
-      false)), (String ((Ascii (false, true, true, true, false, true, true,
-      false)), (String ((Ascii (false, false, true, false, false, true, true,
-      false)), (String ((Ascii (true, false, false, false, false, true, true,
-      false)), (String ((Ascii (true, true, false, false, false, false, true,
-      false)), (String ((Ascii (true, true, true, true, false, true, true,
-      false)), (String ((Ascii (true, false, true, false, true, true, true,
-      false)), (String ((Ascii (false, true, true, true, false, true, true,
-      false)), (String ((Ascii (false, false, true, false, true, true, true,
-      false)), EmptyString)))))))))))))))))))))))))))))))))) ((String ((Ascii
-      (false, false, false, false, true, true, true, false)), (String ((Ascii
-      (true, false, false, false, false, true, true, false)), (String ((Ascii
-      (false, true, false, false, true, true, true, false)), (String ((Ascii
-      (true, true, false, false, true, true, true, false)), (String ((Ascii
-      (true, false, true, false, false, true, true, false)), (String ((Ascii
-      (false, true, true, true, false, false, true, false)), (String ((Ascii
-      (true, false, true, false, true, true, true, false)), (String ((Ascii
-      (true, false, true, true, false, true, true, false)), (String ((Ascii
-      (false, true, true, false, false, false, true, false)), (String ((Ascii
-      (true, false, false, true, false, true, true, false)), (String ((Ascii
-      (true, false, true, false, false, true, true, false)), (String ((Ascii
-      (false, false, true, true, false, true, true, false)), (String ((Ascii
-      (false, false, true, false, false, true, true, false)),
-      EmptyString)))))))))))))))))))))))))) :: [])) :: ((mkcut (S (S (S (S (S
-                                                          (S (S (S (S (S
-                                                          O)))))))))) (S (S
-                                                          (S (S (S (S (S (S
-                                                          (S (S (S (S (S (S
-                                                          (S (S (S (S (S (S
-                                                          O))))))))))))))))))))
-                                                          (String ((Ascii
-                                                          (true, false, true,
-                                                          false, false,
-                                                          false, true,
-                                                          false)), (String
-                                                          ((Ascii (false,
-                                                          true, true, true,
-                                                          false, true, true,
-                                                          false)), (String
-                                                          ((Ascii (false,
-                                                          false, true, false,
-                                                          true, true, true,
-                                                          false)), (String
-                                                          ((Ascii (false,
-                                                          true, false, false,
-                                                          true, true, true,
-                                                          false)), (String
-                                                          ((Ascii (true,
-                                                          false, false, true,
-                                                          true, true, true,
-                                                          false)), (String
-                                                          ((Ascii (false,
-                                                          false, false, true,
-                                                          false, false, true,
-                                                          false)), (String
-                                                          ((Ascii (true,
-                                                          false, false,
-                                                          false, false, true,
-                                                          true, false)),
-                                                          (String ((Ascii
-                                                          (true, true, false,
-                                                          false, true, true,
-                                                          true, false)),
-                                                          (String ((Ascii
-                                                          (false, false,
-                                                          false, true, false,
-                                                          true, true,
-                                                          false)),
-                                                          EmptyString))))))))))))))))))
-                                                          ((String ((Ascii
-                                                          (false, false,
-                                                          false, false, true,
-                                                          true, true,
-                                                          false)), (String
-                                                          ((Ascii (true,
-                                                          false, false,
-                                                          false, false, true,
-                                                          true, false)),
-                                                          (String ((Ascii
-                                                          (false, true,
-                                                          false, false, true,
-                                                          true, true,
-                                                          false)), (String
-                                                          ((Ascii (true,
-                                                          true, false, false,
-                                                          true, true, true,
-                                                          false)), (String
-                                                          ((Ascii (true,
-                                                          false, true, false,
-                                                          false, true, true,
-                                                          false)), (String
-                                                          ((Ascii (false,
-                                                          true, true, true,
-                                                          false, false, true,
-                                                          false)), (String
-                                                          ((Ascii (true,
-                                                          false, true, false,
-                                                          true, true, true,
-                                                          false)), (String
-                                                          ((Ascii (true,
-                                                          false, true, true,
-                                                          false, true, true,
-                                                          false)), (String
-                                                          ((Ascii (false,
-                                                          true, true, false,
-                                                          false, false, true,
-                                                          false)), (String
-                                                          ((Ascii (true,
-                                                          false, false, true,
-                                                          false, true, true,
-                                                          false)), (String
-                                                          ((Ascii (true,
-                                                          false, true, false,
-                                                          false, true, true,
-                                                          false)), (String
-                                                          ((Ascii (false,
-                                                          false, true, true,
-                                                          false, true, true,
-                                                          false)), (String
-                                                          ((Ascii (false,
-                                                          false, true, false,
-                                                          false, true, true,
-                                                          false)),
-                                                          EmptyString)))))))))))))))))))))))))) :: [])) :: (
-    (mkcut (S (S (S (S (S (S (S (S (S (S (S (S (S (S (S (S (S (S (S (S
-      O)))))))))))))))))))) (S (S (S (S (S (S (S (S (S (S (S (S (S (S (S (S
-      (S (S (S (S (S (S (S (S (S (S (S (S (S (S (S (S
-      O)))))))))))))))))))))))))))))))) (String ((Ascii (false, false, true,
-      false, true, false, true, false)), (String ((Ascii (true, true, true,
-      true, false, true, true, false)), (String ((Ascii (false, false, true,
-      false, true, true, true, false)), (String ((Ascii (true, false, false,
-      false, false, true, true, false)), (String ((Ascii (false, false, true,
-      true, false, true, true, false)), (String ((Ascii (false, false, true,
-      false, false, false, true, false)), (String ((Ascii (true, false, true,
-      false, false, true, true, false)), (String ((Ascii (false, true, false,
-      false, false, true, true, false)), (String ((Ascii (true, false, false,
-      true, false, true, true, false)), (String ((Ascii (false, false, true,
-      false, true, true, true, false)), (String ((Ascii (true, false, true,
-      false, false, false, true, false)), (String ((Ascii (false, true, true,
-      true, false, true, true, false)), (String ((Ascii (false, false, true,
-      false, true, true, true, false)), (String ((Ascii (false, true, false,
-      false, true, true, true, false)), (String ((Ascii (true, false, false,
-      true, true, true, true, false)), (String ((Ascii (false, false, true,
-      false, false, false, true, false)), (String ((Ascii (true, true, true,
-      true, false, true, true, false)), (String ((Ascii (false, false, true,
-      true, false, true, true, false)), (String ((Ascii (false, false, true,
-      true, false, true, true, false)), (String ((Ascii (true, false, false,
-      false, false, true, true, false)), (String ((Ascii (false, true, false,
-      false, true, true, true, false)), (String ((Ascii (true, false, false,
-      false, false, false, true, false)), (String ((Ascii (true, false, true,
-      true, false, true, true, false)), (String ((Ascii (true, true, true,
-      true, false, true, true, false)), (String ((Ascii (true, false, true,
-      false, true, true, true, false)), (String ((Ascii (false, true, true,
-      true, false, true, true, false)), (String ((Ascii (false, false, true,
-      false, true, true, true, false)),
-      EmptyString))))))))))))))))))))))))))))))))))))))))))))))))))))))
-      ((String ((Ascii (false, false, false, false, true, true, true,
-      false)), (String ((Ascii (true, false, false, false, false, true, true,
-      false)), (String ((Ascii (false, true, false, false, true, true, true,
-      false)), (String ((Ascii (true, true, false, false, true, true, true,
-      false)), (String ((Ascii (true, false, true, false, false, true, true,
-      false)), (String ((Ascii (false, true, true, true, false, false, true,
-      false)), (String ((Ascii (true, false, true, false, true, true, true,
-      false)), (String ((Ascii (true, false, true, true, false, true, true,
-      false)), (String ((Ascii (false, true, true, false, false, false, true,
-      false)), (String ((Ascii (true, false, false, true, false, true, true,
-      false)), (String ((Ascii (true, false, true, false, false, true, true,
-      false)), (String ((Ascii (false, false, true, true, false, true, true,
-      false)), (String ((Ascii (false, false, true, false, false, true, true,
-      false)), EmptyString)))))))))))))))))))))))))) :: [])) :: ((mkcut (S (S
-                                                                   (S (S (S
-                                                                   (S (S (S
-                                                                   (S (S (S
-                                                                   (S (S (S
-                                                                   (S (S (S
-                                                                   (S (S (S
-                                                                   (S (S (S
-                                                                   (S (S (S
-                                                                   (S (S (S
-                                                                   (S (S (S
-                                                                   O))))))))))))))))))))))))))))))))
-                                                                   (S (S (S
-                                                                   (S (S (S
-                                                                   (S (S (S
-                                                                   (S (S (S
-                                                                   (S (S (S
-                                                                   (S (S (S
-                                                                   (S (S (S
-                                                                   (S (S (S
-                                                                   (S (S (S
-                                                                   (S (S (S
-                                                                   (S (S (S
-                                                                   (S (S (S
-                                                                   (S (S (S
-                                                                   (S (S (S
-                                                                   (S (S
-                                                                   O))))))))))))))))))))))))))))))))))))))))))))
-                                                                   (String
-                                                                   ((Ascii
-                                                                   (false,
-                                                                   false,
-                                                                   true,
-                                                                   false,
-                                                                   true,
-                                                                   false,
-                                                                   true,
-                                                                   false)),
-                                                                   (String
-                                                                   ((Ascii
-                                                                   (true,
-                                                                   true,
-                                                                   true,
-                                                                   true,
-                                                                   false,
-                                                                   true,
-                                                                   true,
-                                                                   false)),
-                                                                   (String
-                                                                   ((Ascii
-                                                                   (false,
-                                                                   false,
-                                                                   true,
-                                                                   false,
-                                                                   true,
-                                                                   true,
-                                                                   true,
-                                                                   false)),
-                                                                   (String
-                                                                   ((Ascii
-                                                                   (true,
-                                                                   false,
-                                                                   false,
-                                                                   false,
-                                                                   false,
-                                                                   true,
-                                                                   true,
-                                                                   false)),
-                                                                   (String
-                                                                   ((Ascii
-                                                                   (false,
-                                                                   false,
-                                                                   true,
-                                                                   true,
-                                                                   false,
-                                                                   true,
-                                                                   true,
-                                                                   false)),
-                                                                   (String
-                                                                   ((Ascii
-                                                                   (true,
-                                                                   true,
-                                                                   false,
-                                                                   false,
-                                                                   false,
-                                                                   false,
-                                                                   true,
-                                                                   false)),
-                                                                   (String
-                                                                   ((Ascii
-                                                                   (false,
-                                                                   true,
-                                                                   false,
-                                                                   false,
-                                                                   true,
-                                                                   true,
-                                                                   true,
-                                                                   false)),
-                                                                   (String
-                                                                   ((Ascii
-                                                                   (true,
-                                                                   false,
-                                                                   true,
-                                                                   false,
-                                                                   false,
-                                                                   true,
-                                                                   true,
-                                                                   false)),
-                                                                   (String
-                                                                   ((Ascii
-                                                                   (false,
-                                                                   false,
-                                                                   true,
-                                                                   false,
-                                                                   false,
-                                                                   true,
-                                                                   true,
-                                                                   false)),
-                                                                   (String
-                                                                   ((Ascii
-                                                                   (true,
-                                                                   false,
-                                                                   false,
-                                                                   true,
-                                                                   false,
-                                                                   true,
-                                                                   true,
-                                                                   false)),
-                                                                   (String
-                                                                   ((Ascii
-                                                                   (false,
-                                                                   false,
-                                                                   true,
-                                                                   false,
-                                                                   true,
-                                                                   true,
-                                                                   true,
-                                                                   false)),
-                                                                   (String
-                                                                   ((Ascii
-                                                                   (true,
-                                                                   false,
-                                                                   true,
-                                                                   false,
-                                                                   false,
-                                                                   false,
-                                                                   true,
-                                                                   false)),
-                                                                   (String
-                                                                   ((Ascii
-                                                                   (false,
-                                                                   true,
-                                                                   true,
-                                                                   true,
-                                                                   false,
-                                                                   true,
-                                                                   true,
-                                                                   false)),
-                                                                   (String
-                                                                   ((Ascii
-                                                                   (false,
-                                                                   false,
-                                                                   true,
-                                                                   false,
-                                                                   true,
-                                                                   true,
-                                                                   true,
-                                                                   false)),
-                                                                   (String
-                                                                   ((Ascii
-                                                                   (false,
-                                                                   true,
-                                                                   false,
-                                                                   false,
-                                                                   true,
-                                                                   true,
-                                                                   true,
-                                                                   false)),
-                                                                   (String
-                                                                   ((Ascii
-                                                                   (true,
-                                                                   false,
-                                                                   false,
-                                                                   true,
-                                                                   true,
-                                                                   true,
-                                                                   true,
-                                                                   false)),
-                                                                   (String
-                                                                   ((Ascii
-                                                                   (false,
-                                                                   false,
-                                                                   true,
-                                                                   false,
-                                                                   false,
-                                                                   false,
-                                                                   true,
-                                                                   false)),
-                                                                   (String
-                                                                   ((Ascii
-                                                                   (true,
-                                                                   true,
-                                                                   true,
-                                                                   true,
-                                                                   false,
-                                                                   true,
-                                                                   true,
-                                                                   false)),
-                                                                   (String
-                                                                   ((Ascii
-                                                                   (false,
-                                                                   false,
-                                                                   true,
-                                                                   true,
-                                                                   false,
-                                                                   true,
-                                                                   true,
-                                                                   false)),
-                                                                   (String
-                                                                   ((Ascii
-                                                                   (false,
-                                                                   false,
-                                                                   true,
-                                                                   true,
-                                                                   false,
-                                                                   true,
-                                                                   true,
-                                                                   false)),
-                                                                   (String
-                                                                   ((Ascii
-                                                                   (true,
-                                                                   false,
-                                                                   false,
-                                                                   false,
-                                                                   false,
-                                                                   true,
-                                                                   true,
-                                                                   false)),
-                                                                   (String
-                                                                   ((Ascii
-                                                                   (false,
-                                                                   true,
-                                                                   false,
-                                                                   false,
-                                                                   true,
-                                                                   true,
-                                                                   true,
-                                                                   false)),
-                                                                   (String
-                                                                   ((Ascii
-                                                                   (true,
-                                                                   false,
-                                                                   false,
-                                                                   false,
-                                                                   false,
-                                                                   false,
-                                                                   true,
-                                                                   false)),
-                                                                   (String
-                                                                   ((Ascii
-                                                                   (true,
-                                                                   false,
-                                                                   true,
-                                                                   true,
-                                                                   false,
-                                                                   true,
-                                                                   true,
-                                                                   false)),
-                                                                   (String
-                                                                   ((Ascii
-                                                                   (true,
-                                                                   true,
-                                                                   true,
-                                                                   true,
-                                                                   false,
-                                                                   true,
-                                                                   true,
-                                                                   false)),
-                                                                   (String
-                                                                   ((Ascii
-                                                                   (true,
-                                                                   false,
-                                                                   true,
-                                                                   false,
-                                                                   true,
-                                                                   true,
-                                                                   true,
-                                                                   false)),
-                                                                   (String
-                                                                   ((Ascii
-                                                                   (false,
-                                                                   true,
-                                                                   true,
-                                                                   true,
-                                                                   false,
-                                                                   true,
-                                                                   true,
-                                                                   false)),
-                                                                   (String
-                                                                   ((Ascii
-                                                                   (false,
-                                                                   false,
-                                                                   true,
-                                                                   false,
-                                                                   true,
-                                                                   true,
-                                                                   true,
-                                                                   false)),
-                                                                   EmptyString))))))))))))))))))))))))))))))))))))))))))))))))))))))))
-                                                                   ((String
-                                                                   ((Ascii
-                                                                   (false,
-                                                                   false,
-                                                                   false,
-                                                                   false,
-                                                                   true,
-                                                                   true,
-                                                                   true,
-                                                                   false)),
-                                                                   (String
-                                                                   ((Ascii
-                                                                   (true,
-                                                                   false,
-                                                                   false,
-                                                                   false,
-                                                                   false,
-                                                                   true,
-                                                                   true,
-                                                                   false)),
-                                                                   (String
-                                                                   ((Ascii
-                                                                   (false,
-                                                                   true,
-                                                                   false,
-                                                                   false,
-                                                                   true,
-                                                                   true,
-                                                                   true,
-                                                                   false)),
-                                                                   (String
-                                                                   ((Ascii
-                                                                   (true,
-                                                                   true,
-                                                                   false,
-                                                                   false,
-                                                                   true,
-                                                                   true,
-                                                                   true,
-                                                                   false)),
-                                                                   (String
-                                                                   ((Ascii
-                                                                   (true,
-                                                                   false,
-                                                                   true,
-                                                                   false,
-                                                                   false,
-                                                                   true,
-                                                                   true,
-                                                                   false)),
-                                                                   (String
-                                                                   ((Ascii
-                                                                   (false,
-                                                                   true,
-                                                                   true,
-                                                                   true,
-                                                                   false,
-                                                                   false,
-                                                                   true,
-                                                                   false)),
-                                                                   (String
-                                                                   ((Ascii
-                                                                   (true,
-                                                                   false,
-                                                                   true,
-                                                                   false,
-                                                                   true,
-                                                                   true,
-                                                                   true,
-                                                                   false)),
-                                                                   (String
-                                                                   ((Ascii
-                                                                   (true,
-                                                                   false,
-                                                                   true,
-                                                                   true,
-                                                                   false,
-                                                                   true,
-                                                                   true,
-                                                                   false)),
-                                                                   (String
-                                                                   ((Ascii
-                                                                   (false,
-                                                                   true,
-                                                                   true,
-                                                                   false,
-                                                                   false,
-                                                                   false,
-                                                                   true,
-                                                                   false)),
-                                                                   (String
-                                                                   ((Ascii
-                                                                   (true,
-                                                                   false,
-                                                                   false,
-                                                                   true,
-                                                                   false,
-                                                                   true,
-                                                                   true,
-                                                                   false)),
-                                                                   (String
-                                                                   ((Ascii
-                                                                   (true,
-                                                                   false,
-                                                                   true,
-                                                                   false,
-                                                                   false,
-                                                                   true,
-                                                                   true,
-                                                                   false)),
-                                                                   (String
-                                                                   ((Ascii
-                                                                   (false,
-                                                                   false,
-                                                                   true,
-                                                                   true,
-                                                                   false,
-                                                                   true,
-                                                                   true,
-                                                                   false)),
-                                                                   (String
-                                                                   ((Ascii
-                                                                   (false,
-                                                                   false,
-                                                                   true,
-                                                                   false,
-                                                                   false,
-                                                                   true,
-                                                                   true,
-                                                                   false)),
-                                                                   EmptyString)))))))))))))))))))))))))) :: [])) :: (
-    (mkcut (S (S (S (S (S (S (S (S (S (S (S (S (S (S (S (S (S (S (S (S (S (S
-      (S (S (S (S (S (S (S (S (S (S (S (S (S (S (S (S (S (S (S (S (S (S
-      O)))))))))))))))))))))))))))))))))))))))))))) (S (S (S (S (S (S (S (S
-      (S (S (S (S (S (S (S (S (S (S (S (S (S (S (S (S (S (S (S (S (S (S (S (S
-      (S (S (S (S (S (S (S (S (S (S (S (S (S (S (S (S (S (S (S (S (S (S
-      O)))))))))))))))))))))))))))))))))))))))))))))))))))))) (String ((Ascii
-      (true, true, false, false, false, false, true, false)), (String ((Ascii
-      (true, true, true, true, false, true, true, false)), (String ((Ascii
-      (true, false, true, true, false, true, true, false)), (String ((Ascii
-      (false, false, false, false, true, true, true, false)), (String ((Ascii
-      (true, false, false, false, false, true, true, false)), (String ((Ascii
-      (false, true, true, true, false, true, true, false)), (String ((Ascii
-      (true, false, false, true, true, true, true, false)), (String ((Ascii
-      (true, false, false, true, false, false, true, false)), (String ((Ascii
-      (false, false, true, false, false, true, true, false)), (String ((Ascii
-      (true, false, true, false, false, true, true, false)), (String ((Ascii
-      (false, true, true, true, false, true, true, false)), (String ((Ascii
-      (false, false, true, false, true, true, true, false)), (String ((Ascii
-      (true, false, false, true, false, true, true, false)), (String ((Ascii
-      (false, true, true, false, false, true, true, false)), (String ((Ascii
-      (true, false, false, true, false, true, true, false)), (String ((Ascii
-      (true, true, false, false, false, true, true, false)), (String ((Ascii
-      (true, false, false, false, false, true, true, false)), (String ((Ascii
-      (false, false, true, false, true, true, true, false)), (String ((Ascii
-      (true, false, false, true, false, true, true, false)), (String ((Ascii
-      (true, true, true, true, false, true, true, false)), (String ((Ascii
-      (false, true, true, true, false, true, true, false)),
-      EmptyString)))))))))))))))))))))))))))))))))))))))))) ((String ((Ascii
-      (false, false, false, false, true, true, true, false)), (String ((Ascii
-      (true, false, false, false, false, true, true, false)), (String ((Ascii
-      (false, true, false, false, true, true, true, false)), (String ((Ascii
-      (true, true, false, false, true, true, true, false)), (String ((Ascii
-      (true, false, true, false, false, true, true, false)), (String ((Ascii
-      (true, true, false, false, true, false, true, false)), (String ((Ascii
-      (false, false, true, false, true, true, true, false)), (String ((Ascii
-      (false, true, false, false, true, true, true, false)), (String ((Ascii
-      (true, false, false, true, false, true, true, false)), (String ((Ascii
-      (false, true, true, true, false, true, true, false)), (String ((Ascii
-      (true, true, true, false, false, true, true, false)), (String ((Ascii
-      (false, true, true, false, false, false, true, false)), (String ((Ascii
-      (true, false, false, true, false, true, true, false)), (String ((Ascii
-      (true, false, true, false, false, true, true, false)), (String ((Ascii
-      (false, false, true, true, false, true, true, false)), (String ((Ascii
-      (false, false, true, false, false, true, true, false)), (String ((Ascii
-      (true, true, true, false, true, false, true, false)), (String ((Ascii
-      (true, false, false, true, false, true, true, false)), (String ((Ascii
-      (false, false, true, false, true, true, true, false)), (String ((Ascii
-      (false, false, false, true, false, true, true, false)), (String ((Ascii
-      (true, true, true, true, false, false, true, false)), (String ((Ascii
-      (false, false, false, false, true, true, true, false)), (String ((Ascii
-      (false, false, true, false, true, true, true, false)), (String ((Ascii
-      (true, true, false, false, true, true, true, false)),
-      EmptyString)))))))))))))))))))))))))))))))))))))))))))))))) :: [])) :: (
-    (mkcut (S (S (S (S (S (S (S (S (S (S (S (S (S (S (S (S (S (S (S (S (S (S
-      (S (S (S (S (S (S (S (S (S (S (S (S (S (S (S (S (S (S (S (S (S (S (S (S
-      (S (S (S (S (S (S (S (S
-      O)))))))))))))))))))))))))))))))))))))))))))))))))))))) (S (S (S (S (S
-      (S (S (S (S (S (S (S (S (S (S (S (S (S (S (S (S (S (S (S (S (S (S (S (S
-      (S (S (S (S (S (S (S (S (S (S (S (S (S (S (S (S (S (S (S (S (S (S (S (S
-      (S (S (S (S (S (S (S (S (S (S (S (S (S (S (S (S (S (S (S (S
-      O)))))))))))))))))))))))))))))))))))))))))))))))))))))))))))))))))))))))))
-      (String ((Ascii (true, false, true, true, false, false, true, false)),
-      (String ((Ascii (true, false, true, false, false, true, true, false)),
-      (String ((Ascii (true, true, false, false, true, true, true, false)),
-      (String ((Ascii (true, true, false, false, true, true, true, false)),
-      (String ((Ascii (true, false, false, false, false, true, true, false)),
-      (String ((Ascii (true, true, true, false, false, true, true, false)),
-      (String ((Ascii (true, false, true, false, false, true, true, false)),
-      (String ((Ascii (true, false, false, false, false, false, true,
-      false)), (String ((Ascii (true, false, true, false, true, true, true,
-      false)), (String ((Ascii (false, false, true, false, true, true, true,
-      false)), (String ((Ascii (false, false, false, true, false, true, true,
-      false)), (String ((Ascii (true, false, true, false, false, true, true,
-      false)), (String ((Ascii (false, true, true, true, false, true, true,
-      false)), (String ((Ascii (false, false, true, false, true, true, true,
-      false)), (String ((Ascii (true, false, false, true, false, true, true,
-      false)), (String ((Ascii (true, true, false, false, false, true, true,
-      false)), (String ((Ascii (true, false, false, false, false, true, true,
-      false)), (String ((Ascii (false, false, true, false, true, true, true,
-      false)), (String ((Ascii (true, false, false, true, false, true, true,
-      false)), (String ((Ascii (true, true, true, true, false, true, true,
-      false)), (String ((Ascii (false, true, true, true, false, true, true,
-      false)), (String ((Ascii (true, true, false, false, false, false, true,
-      false)), (String ((Ascii (true, true, true, true, false, true, true,
-      false)), (String ((Ascii (false, false, true, false, false, true, true,
-      false)), (String ((Ascii (true, false, true, false, false, true, true,
-      false)), EmptyString))))))))))))))))))))))))))))))))))))))))))))))))))
-      ((String ((Ascii (false, false, false, false, true, true, true,
-      false)), (String ((Ascii (true, false, false, false, false, true, true,
-      false)), (String ((Ascii (false, true, false, false, true, true, true,
-      false)), (String ((Ascii (true, true, false, false, true, true, true,
-      false)), (String ((Ascii (true, false, true, false, false, true, true,
-      false)), (String ((Ascii (true, true, false, false, true, false, true,
-      false)), (String ((Ascii (false, false, true, false, true, true, true,
-      false)), (String ((Ascii (false, true, false, false, true, true, true,
-      false)), (String ((Ascii (true, false, false, true, false, true, true,
-      false)), (String ((Ascii (false, true, true, true, false, true, true,
-      false)), (String ((Ascii (true, true, true, false, false, true, true,
-      false)), (String ((Ascii (false, true, true, false, false, false, true,
-      false)), (String ((Ascii (true, false, false, true, false, true, true,
-      false)), (String ((Ascii (true, false, true, false, false, true, true,
-      false)), (String ((Ascii (false, false, true, true, false, true, true,
-      false)), (String ((Ascii (false, false, true, false, false, true, true,
-      false)), (String ((Ascii (true, true, true, false, true, false, true,
-      false)), (String ((Ascii (true, false, false, true, false, true, true,
-      false)), (String ((Ascii (false, false, true, false, true, true, true,
-      false)), (String ((Ascii (false, false, false, true, false, true, true,
-      false)), (String ((Ascii (true, true, true, true, false, false, true,
-      false)), (String ((Ascii (false, false, false, false, true, true, true,
-      false)), (String ((Ascii (false, false, true, false, true, true, true,
-      false)), (String ((Ascii (true, true, false, false, true, true, true,
-      false)),
-      EmptyString)))))))))))))))))))))))))))))))))))))))))))))))) :: [])) :: (
-    (mkcut (S (S (S (S (S (S (S (S (S (S (S (S (S (S (S (S (S (S (S (S (S (S
-      (S (S (S (S (S (S (S (S (S (S (S (S (S (S (S (S (S (S (S (S (S (S (S (S
-      (S (S (S (S (S (S (S (S (S (S (S (S (S (S (S (S (S (S (S (S (S (S (S (S
-      (S (S (S (S (S (S (S (S (S
-      O)))))))))))))))))))))))))))))))))))))))))))))))))))))))))))))))))))))))))))))))
-      (S (S (S (S (S (S (S (S (S (S (S (S (S (S (S (S (S (S (S (S (S (S (S (S
-      (S (S (S (S (S (S (S (S (S (S (S (S (S (S (S (S (S (S (S (S (S (S (S (S
-      (S (S (S (S (S (S (S (S (S (S (S (S (S (S (S (S (S (S (S (S (S (S (S (S
-      (S (S (S (S (S (S (S (S (S (S (S (S (S (S (S
-      O)))))))))))))))))))))))))))))))))))))))))))))))))))))))))))))))))))))))))))))))))))))))
-      (String ((Ascii (true, true, true, true, false, false, true, false)),
-      (String ((Ascii (false, false, true, false, false, false, true,
-      false)), (String ((Ascii (false, true, true, false, false, false, true,
-      false)), (String ((Ascii (true, false, false, true, false, false, true,
-      false)), (String ((Ascii (true, false, false, true, false, false, true,
-      false)), (String ((Ascii (false, false, true, false, false, true, true,
-      false)), (String ((Ascii (true, false, true, false, false, true, true,
-      false)), (String ((Ascii (false, true, true, true, false, true, true,
-      false)), (String ((Ascii (false, false, true, false, true, true, true,
-      false)), (String ((Ascii (true, false, false, true, false, true, true,
-      false)), (String ((Ascii (false, true, true, false, false, true, true,
-      false)), (String ((Ascii (true, false, false, true, false, true, true,
-      false)), (String ((Ascii (true, true, false, false, false, true, true,
-      false)), (String ((Ascii (true, false, false, false, false, true, true,
-      false)), (String ((Ascii (false, false, true, false, true, true, true,
-      false)), (String ((Ascii (true, false, false, true, false, true, true,
-      false)), (String ((Ascii (true, true, true, true, false, true, true,
-      false)), (String ((Ascii (false, true, true, true, false, true, true,
-      false)), EmptyString)))))))))))))))))))))))))))))))))))) ((String
-      ((Ascii (false, false, false, false, true, true, true, false)), (String
-      ((Ascii (true, false, false, false, false, true, true, false)), (String
-      ((Ascii (false, true, false, false, true, true, true, false)), (String
-      ((Ascii (true, true, false, false, true, true, true, false)), (String
-      ((Ascii (true, false, true, false, false, true, true, false)), (String
-      ((Ascii (true, true, false, false, true, false, true, false)), (String
-      ((Ascii (false, false, true, false, true, true, true, false)), (String
-      ((Ascii (false, true, false, false, true, true, true, false)), (String
-      ((Ascii (true, false, false, true, false, true, true, false)), (String
-      ((Ascii (false, true, true, true, false, true, true, false)), (String
-      ((Ascii (true, true, true, false, false, true, true, false)), (String
-      ((Ascii (false, true, true, false, false, false, true, false)), (String
-      ((Ascii (true, false, false, true, false, true, true, false)), (String
-      ((Ascii (true, false, true, false, false, true, true, false)), (String
-      ((Ascii (false, false, true, true, false, true, true, false)), (String
-      ((Ascii (false, false, true, false, false, true, true, false)), (String
-      ((Ascii (true, true, true, false, true, false, true, false)), (String
-      ((Ascii (true, false, false, true, false, true, true, false)), (String
-      ((Ascii (false, false, true, false, true, true, true, false)), (String
-      ((Ascii (false, false, false, true, false, true, true, false)), (String
-      ((Ascii (true, true, true, true, false, false, true, false)), (String
-      ((Ascii (false, false, false, false, true, true, true, false)), (String
-      ((Ascii (false, false, true, false, true, true, true, false)), (String
-      ((Ascii (true, true, false, false, true, true, true, false)),
-      EmptyString)))))))))))))))))))))))))))))))))))))))))))))))) :: [])) :: (
-    (mkcut (S (S (S (S (S (S (S (S (S (S (S (S (S (S (S (S (S (S (S (S (S (S
-      (S (S (S (S (S (S (S (S (S (S (S (S (S (S (S (S (S (S (S (S (S (S (S (S
-      (S (S (S (S (S (S (S (S (S (S (S (S (S (S (S (S (S (S (S (S (S (S (S (S
-      (S (S (S (S (S (S (S (S (S (S (S (S (S (S (S (S (S
-      O)))))))))))))))))))))))))))))))))))))))))))))))))))))))))))))))))))))))))))))))))))))))
-      (S (S (S (S (S (S (S (S (S (S (S (S (S (S (S (S (S (S (S (S (S (S (S (S
-      (S (S (S (S (S (S (S (S (S (S (S (S (S (S (S (S (S (S (S (S (S (S (S (S
-      (S (S (S (S (S (S (S (S (S (S (S (S (S (S (S (S (S (S (S (S (S (S (S (S
-      (S (S (S (S (S (S (S (S (S (S (S (S (S (S (S (S (S (S (S (S (S (S
-      O))))))))))))))))))))))))))))))))))))))))))))))))))))))))))))))))))))))))))))))))))))))))))))))
-      (String ((Ascii (false, true, false, false, false, false, true,
-      false)), (String ((Ascii (true, false, false, false, false, true, true,
-      false)), (String ((Ascii (false, false, true, false, true, true, true,
-      false)), (String ((Ascii (true, true, false, false, false, true, true,
-      false)), (String ((Ascii (false, false, false, true, false, true, true,
-      false)), (String ((Ascii (false, true, true, true, false, false, true,
-      false)), (String ((Ascii (true, false, true, false, true, true, true,
-      false)), (String ((Ascii (true, false, true, true, false, true, true,
-      false)), (String ((Ascii (false, true, false, false, false, true, true,
-      false)), (String ((Ascii (true, false, true, false, false, true, true,
-      false)), (String ((Ascii (false, true, false, false, true, true, true,
-      false)), EmptyString)))))))))))))))))))))) ((String ((Ascii (false,
-      false, false, false, true, true, true, false)), (String ((Ascii (true,
-      false, false, false, false, true, true, false)), (String ((Ascii
-      (false, true, false, false, true, true, true, false)), (String ((Ascii
-      (true, true, false, false, true, true, true, false)), (String ((Ascii
-      (true, false, true, false, false, true, true, false)), (String ((Ascii
-      (false, true, true, true, false, false, true, false)), (String ((Ascii
-      (true, false, true, false, true, true, true, false)), (String ((Ascii
-      (true, false, true, true, false, true, true, false)), (String ((Ascii
-      (false, true, true, false, false, false, true, false)), (String ((Ascii
-      (true, false, false, true, false, true, true, false)), (String ((Ascii
-      (true, false, true, false, false, true, true, false)), (String ((Ascii
-      (false, false, true, true, false, true, true, false)), (String ((Ascii
-      (false, false, true, false, false, true, true, false)),
-      EmptyString)))))))))))))))))))))))))) :: [])) :: []))))))))) }
-
-(** val l_BatchHeader : layout **)
-
-let l_BatchHeader =
-  { l_name = (String ((Ascii (false, true, false, false, false, false, true,
-    false)), (String ((Ascii (true, false, false, false, false, true, true,
-    false)), (String ((Ascii (false, false, true, false, true, true, true,
-    false)), (String ((Ascii (true, true, false, false, false, true, true,
-    false)), (String ((Ascii (false, false, false, true, false, true, true,
-    false)), (String ((Ascii (false, false, false, true, false, false, true,
-    false)), (String ((Ascii (true, false, true, false, false, true, true,
-    false)), (String ((Ascii (true, false, false, false, false, true, true,
-    false)), (String ((Ascii (false, false, true, false, false, true, true,
-    false)), (String ((Ascii (true, false, true, false, false, true, true,
-    false)), (String ((Ascii (false, true, false, false, true, true, true,
-    false)), EmptyString)))))))))))))))))))))); l_ix = IRune; l_segs = ((SLit
-    ((Npos (XI (XO (XI (XO (XI XH)))))) :: [])) :: ((SItoa (String ((Ascii
-    (true, true, false, false, true, false, true, false)), (String ((Ascii
-    (true, false, true, false, false, true, true, false)), (String ((Ascii
-    (false, true, false, false, true, true, true, false)), (String ((Ascii
-    (false, true, true, false, true, true, true, false)), (String ((Ascii
-    (true, false, false, true, false, true, true, false)), (String ((Ascii
-    (true, true, false, false, false, true, true, false)), (String ((Ascii
-    (true, false, true, false, false, true, true, false)), (String ((Ascii
-    (true, true, false, false, false, false, true, false)), (String ((Ascii
-    (false, false, true, true, false, true, true, false)), (String ((Ascii
-    (true, false, false, false, false, true, true, false)), (String ((Ascii
-    (true, true, false, false, true, true, true, false)), (String ((Ascii
-    (true, true, false, false, true, true, true, false)), (String ((Ascii
-    (true, true, false, false, false, false, true, false)), (String ((Ascii
-    (true, true, true, true, false, true, true, false)), (String ((Ascii
-    (false, false, true, false, false, true, true, false)), (String ((Ascii
-    (true, false, true, false, false, true, true, false)),
-    EmptyString))))))))))))))))))))))))))))))))) :: ((SAlpha ((String ((Ascii
-    (true, true, false, false, false, false, true, false)), (String ((Ascii
-    (true, true, true, true, false, true, true, false)), (String ((Ascii
-    (true, false, true, true, false, true, true, false)), (String ((Ascii
-    (false, false, false, false, true, true, true, false)), (String ((Ascii
-    (true, false, false, false, false, true, true, false)), (String ((Ascii
-    (false, true, true, true, false, true, true, false)), (String ((Ascii
-    (true, false, false, true, true, true, true, false)), (String ((Ascii
-    (false, true, true, true, false, false, true, false)), (String ((Ascii
-    (true, false, false, false, false, true, true, false)), (String ((Ascii
-    (true, false, true, true, false, true, true, false)), (String ((Ascii
-    (true, false, true, false, false, true, true, false)),
-    EmptyString)))))))))))))))))))))), (S (S (S (S (S (S (S (S (S (S (S (S (S
-    (S (S (S O)))))))))))))))))) :: ((SAlpha ((String ((Ascii (true, true,
-    false, false, false, false, true, false)), (String ((Ascii (true, true,
-    true, true, false, true, true, false)), (String ((Ascii (true, false,
-    true, true, false, true, true, false)), (String ((Ascii (false, false,
-    false, false, true, true, true, false)), (String ((Ascii (true, false,
-    false, false, false, true, true, false)), (String ((Ascii (false, true,
-    true, true, false, true, true, false)), (String ((Ascii (true, false,
-    false, true, true, true, true, false)), (String ((Ascii (false, false,
-    true, false, false, false, true, false)), (String ((Ascii (true, false,
-    false, true, false, true, true, false)), (String ((Ascii (true, true,
-    false, false, true, true, true, false)), (String ((Ascii (true, true,
-    false, false, false, true, true, false)), (String ((Ascii (false, true,
-    false, false, true, true, true, false)), (String ((Ascii (true, false,
-    true, false, false, true, true, false)), (String ((Ascii (false, false,
-    true, false, true, true, true, false)), (String ((Ascii (true, false,
-    false, true, false, true, true, false)), (String ((Ascii (true, true,
-    true, true, false, true, true, false)), (String ((Ascii (false, true,
-    true, true, false, true, true, false)), (String ((Ascii (true, false,
-    false, false, false, true, true, false)), (String ((Ascii (false, true,
-    false, false, true, true, true, false)), (String ((Ascii (true, false,
-    false, true, true, true, true, false)), (String ((Ascii (false, false,
-    true, false, false, false, true, false)), (String ((Ascii (true, false,
-    false, false, false, true, true, false)), (String ((Ascii (false, false,
-    true, false, true, true, true, false)), (String ((Ascii (true, false,
-    false, false, false, true, true, false)),
-    EmptyString)))))))))))))))))))))))))))))))))))))))))))))))), (S (S (S (S
-    (S (S (S (S (S (S (S (S (S (S (S (S (S (S (S (S
-    O)))))))))))))))))))))) :: ((SAlpha ((String ((Ascii (true, true, false,
-    false, false, false, true, false)), (String ((Ascii (true, true, true,
-    true, false, true, true, false)), (String ((Ascii (true, false, true,
-    true, false, true, true, false)), (String ((Ascii (false, false, false,
-    false, true, true, true, false)), (String ((Ascii (true, false, false,
-    false, false, true, true, false)), (String ((Ascii (false, true, true,
-    true, false, true, true, false)), (String ((Ascii (true, false, false,
-    true, true, true, true, false)), (String ((Ascii (true, false, false,
-    true, false, false, true, false)), (String ((Ascii (false, false, true,
-    false, false, true, true, false)), (String ((Ascii (true, false, true,
-    false, false, true, true, false)), (String ((Ascii (false, true, true,
-    true, false, true, true, false)), (String ((Ascii (false, false, true,
-    false, true, true, true, false)), (String ((Ascii (true, false, false,
-    true, false, true, true, false)), (String ((Ascii (false, true, true,
-    false, false, true, true, false)), (String ((Ascii (true, false, false,
-    true, false, true, true, false)), (String ((Ascii (true, true, false,
-    false, false, true, true, false)), (String ((Ascii (true, false, false,
-    false, false, true, true, false)), (String ((Ascii (false, false, true,
-    false, true, true, true, false)), (String ((Ascii (true, false, false,
-    true, false, true, true, false)), (String ((Ascii (true, true, true,
-    true, false, true, true, false)), (String ((Ascii (false, true, true,
-    true, false, true, true, false)),
-    EmptyString)))))))))))))))))))))))))))))))))))))))))), (S (S (S (S (S (S
-    (S (S (S (S O)))))))))))) :: ((SRaw (String ((Ascii (true, true, false,
-    false, true, false, true, false)), (String ((Ascii (false, false, true,
-    false, true, true, true, false)), (String ((Ascii (true, false, false,
-    false, false, true, true, false)), (String ((Ascii (false, true, true,
-    true, false, true, true, false)), (String ((Ascii (false, false, true,
-    false, false, true, true, false)), (String ((Ascii (true, false, false,
-    false, false, true, true, false)), (String ((Ascii (false, true, false,
-    false, true, true, true, false)), (String ((Ascii (false, false, true,
-    false, false, true, true, false)), (String ((Ascii (true, false, true,
-    false, false, false, true, false)), (String ((Ascii (false, true, true,
-    true, false, true, true, false)), (String ((Ascii (false, false, true,
-    false, true, true, true, false)), (String ((Ascii (false, true, false,
-    false, true, true, true, false)), (String ((Ascii (true, false, false,
-    true, true, true, true, false)), (String ((Ascii (true, true, false,
-    false, false, false, true, false)), (String ((Ascii (false, false, true,
-    true, false, true, true, false)), (String ((Ascii (true, false, false,
-    false, false, true, true, false)), (String ((Ascii (true, true, false,
-    false, true, true, true, false)), (String ((Ascii (true, true, false,
-    false, true, true, true, false)), (String ((Ascii (true, true, false,
-    false, false, false, true, false)), (String ((Ascii (true, true, true,
-    true, false, true, true, false)), (String ((Ascii (false, false, true,
-    false, false, true, true, false)), (String ((Ascii (true, false, true,
-    false, false, true, true, false)),
-    EmptyString))))))))))))))))))))))))))))))))))))))))))))) :: ((SAlpha
-    ((String ((Ascii (true, true, false, false, false, false, true, false)),
-    (String ((Ascii (true, true, true, true, false, true, true, false)),
-    (String ((Ascii (true, false, true, true, false, true, true, false)),
-    (String ((Ascii (false, false, false, false, true, true, true, false)),
-    (String ((Ascii (true, false, false, false, false, true, true, false)),
-    (String ((Ascii (false, true, true, true, false, true, true, false)),
-    (String ((Ascii (true, false, false, true, true, true, true, false)),
-    (String ((Ascii (true, false, true, false, false, false, true, false)),
-    (String ((Ascii (false, true, true, true, false, true, true, false)),
-    (String ((Ascii (false, false, true, false, true, true, true, false)),
-    (String ((Ascii (false, true, false, false, true, true, true, false)),
-    (String ((Ascii (true, false, false, true, true, true, true, false)),
-    (String ((Ascii (false, false, true, false, false, false, true, false)),
-    (String ((Ascii (true, false, true, false, false, true, true, false)),
-    (String ((Ascii (true, true, false, false, true, true, true, false)),
-    (String ((Ascii (true, true, false, false, false, true, true, false)),
-    (String ((Ascii (false, true, false, false, true, true, true, false)),
-    (String ((Ascii (true, false, false, true, false, true, true, false)),
-    (String ((Ascii (false, false, false, false, true, true, true, false)),
-    (String ((Ascii (false, false, true, false, true, true, true, false)),
-    (String ((Ascii (true, false, false, true, false, true, true, false)),
-    (String ((Ascii (true, true, true, true, false, true, true, false)),
-    (String ((Ascii (false, true, true, true, false, true, true, false)),
-    EmptyString)))))))))))))))))))))))))))))))))))))))))))))), (S (S (S (S (S
-    (S (S (S (S (S O)))))))))))) :: ((SAlpha ((String ((Ascii (true, true,
-    false, false, false, false, true, false)), (String ((Ascii (true, true,
-    true, true, false, true, true, false)), (String ((Ascii (true, false,
-    true, true, false, true, true, false)), (String ((Ascii (false, false,
-    false, false, true, true, true, false)), (String ((Ascii (true, false,
-    false, false, false, true, true, false)), (String ((Ascii (false, true,
-    true, true, false, true, true, false)), (String ((Ascii (true, false,
-    false, true, true, true, true, false)), (String ((Ascii (false, false,
-    true, false, false, false, true, false)), (String ((Ascii (true, false,
-    true, false, false, true, true, false)), (String ((Ascii (true, true,
-    false, false, true, true, true, false)), (String ((Ascii (true, true,
-    false, false, false, true, true, false)), (String ((Ascii (false, true,
-    false, false, true, true, true, false)), (String ((Ascii (true, false,
-    false, true, false, true, true, false)), (String ((Ascii (false, false,
-    false, false, true, true, true, false)), (String ((Ascii (false, false,
-    true, false, true, true, true, false)), (String ((Ascii (true, false,
-    false, true, false, true, true, false)), (String ((Ascii (false, true,
-    true, false, true, true, true, false)), (String ((Ascii (true, false,
-    true, false, false, true, true, false)), (String ((Ascii (false, false,
-    true, false, false, false, true, false)), (String ((Ascii (true, false,
-    false, false, false, true, true, false)), (String ((Ascii (false, false,
-    true, false, true, true, true, false)), (String ((Ascii (true, false,
-    true, false, false, true, true, false)),
-    EmptyString)))))))))))))))))))))))))))))))))))))))))))), (S (S (S (S (S
-    (S O)))))))) :: ((SCustom ((String ((Ascii (false, true, false, false,
-    false, false, true, false)), (String ((Ascii (true, false, false, false,
-    false, true, true, false)), (String ((Ascii (false, false, true, false,
-    true, true, true, false)), (String ((Ascii (true, true, false, false,
-    false, true, true, false)), (String ((Ascii (false, false, false, true,
-    false, true, true, false)), (String ((Ascii (false, false, false, true,
-    false, false, true, false)), (String ((Ascii (true, false, true, false,
-    false, true, true, false)), (String ((Ascii (true, false, false, false,
-    false, true, true, false)), (String ((Ascii (false, false, true, false,
-    false, true, true, false)), (String ((Ascii (true, false, true, false,
-    false, true, true, false)), (String ((Ascii (false, true, false, false,
-    true, true, true, false)), (String ((Ascii (false, true, true, true,
-    false, true, false, false)), (String ((Ascii (true, false, true, false,
-    false, false, true, false)), (String ((Ascii (false, true, true, false,
-    false, true, true, false)), (String ((Ascii (false, true, true, false,
-    false, true, true, false)), (String ((Ascii (true, false, true, false,
-    false, true, true, false)), (String ((Ascii (true, true, false, false,
-    false, true, true, false)), (String ((Ascii (false, false, true, false,
-    true, true, true, false)), (String ((Ascii (true, false, false, true,
-    false, true, true, false)), (String ((Ascii (false, true, true, false,
-    true, true, true, false)), (String ((Ascii (true, false, true, false,
-    false, true, true, false)), (String ((Ascii (true, false, true, false,
-    false, false, true, false)), (String ((Ascii (false, true, true, true,
-    false, true, true, false)), (String ((Ascii (false, false, true, false,
-    true, true, true, false)), (String ((Ascii (false, true, false, false,
-    true, true, true, false)), (String ((Ascii (true, false, false, true,
-    true, true, true, false)), (String ((Ascii (false, false, true, false,
-    false, false, true, false)), (String ((Ascii (true, false, false, false,
-    false, true, true, false)), (String ((Ascii (false, false, true, false,
-    true, true, true, false)), (String ((Ascii (true, false, true, false,
-    false, true, true, false)), (String ((Ascii (false, true, true, false,
-    false, false, true, false)), (String ((Ascii (true, false, false, true,
-    false, true, true, false)), (String ((Ascii (true, false, true, false,
-    false, true, true, false)), (String ((Ascii (false, false, true, true,
-    false, true, true, false)), (String ((Ascii (false, false, true, false,
-    false, true, true, false)),
-    EmptyString)))))))))))))))))))))))))))))))))))))))))))))))))))))))))))))))))))))),
-    (String ((Ascii (false, true, false, false, true, true, false, false)),
-    (String ((Ascii (true, true, true, false, true, true, false, false)),
-    (String ((Ascii (false, true, true, false, false, true, true, false)),
-    (String ((Ascii (true, false, false, false, true, true, false, false)),
-    (String ((Ascii (true, true, true, false, true, true, false, false)),
-    (String ((Ascii (false, true, false, false, false, true, true, false)),
-    (String ((Ascii (false, true, true, false, true, true, false, false)),
-    (String ((Ascii (true, true, true, false, true, true, false, false)),
-    (String ((Ascii (true, true, true, false, true, true, false, false)),
-    (String ((Ascii (false, false, true, false, false, true, true, false)),
-    (String ((Ascii (false, true, false, false, false, true, true, false)),
-    (String ((Ascii (false, false, false, true, true, true, false, false)),
-    EmptyString)))))))))))))))))))))))))) :: ((SAlpha ((String ((Ascii (true,
-    true, false, false, true, false, true, false)), (String ((Ascii (true,
-    false, true, false, false, true, true, false)), (String ((Ascii (false,
-    false, true, false, true, true, true, false)), (String ((Ascii (false,
-    false, true, false, true, true, true, false)), (String ((Ascii (false,
-    false, true, true, false, true, true, false)), (String ((Ascii (true,
-    false, true, false, false, true, true, false)), (String ((Ascii (true,
-    false, true, true, false, true, true, false)), (String ((Ascii (true,
-    false, true, false, false, true, true, false)), (String ((Ascii (false,
-    true, true, true, false, true, true, false)), (String ((Ascii (false,
-    false, true, false, true, true, true, false)), (String ((Ascii (false,
-    false, true, false, false, false, true, false)), (String ((Ascii (true,
-    false, false, false, false, true, true, false)), (String ((Ascii (false,
-    false, true, false, true, true, true, false)), (String ((Ascii (true,
-    false, true, false, false, true, true, false)),
-    EmptyString)))))))))))))))))))))))))))), (S (S (S O))))) :: ((SItoa
-    (String ((Ascii (true, true, true, true, false, false, true, false)),
-    (String ((Ascii (false, true, false, false, true, true, true, false)),
-    (String ((Ascii (true, false, false, true, false, true, true, false)),
-    (String ((Ascii (true, true, true, false, false, true, true, false)),
-    (String ((Ascii (true, false, false, true, false, true, true, false)),
-    (String ((Ascii (false, true, true, true, false, true, true, false)),
-    (String ((Ascii (true, false, false, false, false, true, true, false)),
-    (String ((Ascii (false, false, true, false, true, true, true, false)),
-    (String ((Ascii (true, true, true, true, false, true, true, false)),
-    (String ((Ascii (false, true, false, false, true, true, true, false)),
-    (String ((Ascii (true, true, false, false, true, false, true, false)),
-    (String ((Ascii (false, false, true, false, true, true, true, false)),
-    (String ((Ascii (true, false, false, false, false, true, true, false)),
-    (String ((Ascii (false, false, true, false, true, true, true, false)),
-    (String ((Ascii (true, false, true, false, true, true, true, false)),
-    (String ((Ascii (true, true, false, false, true, true, true, false)),
-    (String ((Ascii (true, true, false, false, false, false, true, false)),
-    (String ((Ascii (true, true, true, true, false, true, true, false)),
-    (String ((Ascii (false, false, true, false, false, true, true, false)),
-    (String ((Ascii (true, false, true, false, false, true, true, false)),
-    EmptyString))))))))))))))))))))))))))))))))))))))))) :: ((SStr ((String
-    ((Ascii (true, true, true, true, false, false, true, false)), (String
-    ((Ascii (false, false, true, false, false, false, true, false)), (String
-    ((Ascii (false, true, true, false, false, false, true, false)), (String
-    ((Ascii (true, false, false, true, false, false, true, false)), (String
-    ((Ascii (true, false, false, true, false, false, true, false)), (String
-    ((Ascii (false, false, true, false, false, true, true, false)), (String
-    ((Ascii (true, false, true, false, false, true, true, false)), (String
-    ((Ascii (false, true, true, true, false, true, true, false)), (String
-    ((Ascii (false, false, true, false, true, true, true, false)), (String
-    ((Ascii (true, false, false, true, false, true, true, false)), (String
-    ((Ascii (false, true, true, false, false, true, true, false)), (String
-    ((Ascii (true, false, false, true, false, true, true, false)), (String
-    ((Ascii (true, true, false, false, false, true, true, false)), (String
-    ((Ascii (true, false, false, false, false, true, true, false)), (String
-    ((Ascii (false, false, true, false, true, true, true, false)), (String
-    ((Ascii (true, false, false, true, false, true, true, false)), (String
-    ((Ascii (true, true, true, true, false, true, true, false)), (String
-    ((Ascii (false, true, true, true, false, true, true, false)),
-    EmptyString)))))))))))))))))))))))))))))))))))), (S (S (S (S (S (S (S (S
-    O)))))))))) :: ((SNum ((String ((Ascii (false, true, false, false, false,
-    false, true, false)), (String ((Ascii (true, false, false, false, false,
-    true, true, false)), (String ((Ascii (false, false, true, false, true,
-    true, true, false)), (String ((Ascii (true, true, false, false, false,
-    true, true, false)), (String ((Ascii (false, false, false, true, false,
-    true, true, false)), (String ((Ascii (false, true, true, true, false,
-    false, true, false)), (String ((Ascii (true, false, true, false, true,
-    true, true, false)), (String ((Ascii (true, false, true, true, false,
-    true, true, false)), (String ((Ascii (false, true, false, false, false,
-    true, true, false)), (String ((Ascii (true, false, true, false, false,
-    true, true, false)), (String ((Ascii (false, true, false, false, true,
-    true, true, false)), EmptyString)))))))))))))))))))))), (S (S (S (S (S (S
-    (S O))))))))) :: []))))))))))))); l_cuts =
-    ((mkcut O (S O) EmptyString []) :: ((mkcut (S O) (S (S (S (S O))))
-                                          (String ((Ascii (true, true, false,
-                                          false, true, false, true, false)),
-                                          (String ((Ascii (true, false, true,
-                                          false, false, true, true, false)),
-                                          (String ((Ascii (false, true,
-                                          false, false, true, true, true,
-                                          false)), (String ((Ascii (false,
-                                          true, true, false, true, true,
-                                          true, false)), (String ((Ascii
-                                          (true, false, false, true, false,
-                                          true, true, false)), (String
-                                          ((Ascii (true, true, false, false,
-                                          false, true, true, false)), (String
-                                          ((Ascii (true, false, true, false,
-                                          false, true, true, false)), (String
-                                          ((Ascii (true, true, false, false,
-                                          false, false, true, false)),
-                                          (String ((Ascii (false, false,
-                                          true, true, false, true, true,
-                                          false)), (String ((Ascii (true,
-                                          false, false, false, false, true,
-                                          true, false)), (String ((Ascii
-                                          (true, true, false, false, true,
-                                          true, true, false)), (String
-                                          ((Ascii (true, true, false, false,
-                                          true, true, true, false)), (String
-                                          ((Ascii (true, true, false, false,
-                                          false, false, true, false)),
-                                          (String ((Ascii (true, true, true,
-                                          true, false, true, true, false)),
-                                          (String ((Ascii (false, false,
-                                          true, false, false, true, true,
-                                          false)), (String ((Ascii (true,
-                                          false, true, false, false, true,
-                                          true, false)),
-                                          EmptyString))))))))))))))))))))))))))))))))
-                                          ((String ((Ascii (false, false,
-                                          false, false, true, true, true,
-                                          false)), (String ((Ascii (true,
-                                          false, false, false, false, true,
-                                          true, false)), (String ((Ascii
-                                          (false, true, false, false, true,
-                                          true, true, false)), (String
-                                          ((Ascii (true, true, false, false,
-                                          true, true, true, false)), (String
-                                          ((Ascii (true, false, true, false,
-                                          false, true, true, false)), (String
-                                          ((Ascii (false, true, true, true,
-                                          false, false, true, false)),
-                                          (String ((Ascii (true, false, true,
-                                          false, true, true, true, false)),
-                                          (String ((Ascii (true, false, true,
-                                          true, false, true, true, false)),
-                                          (String ((Ascii (false, true, true,
-                                          false, false, false, true, false)),
-                                          (String ((Ascii (true, false,
-                                          false, true, false, true, true,
-                                          false)), (String ((Ascii (true,
-                                          false, true, false, false, true,
-                                          true, false)), (String ((Ascii
-                                          (false, false, true, true, false,
-                                          true, true, false)), (String
-                                          ((Ascii (false, false, true, false,
-                                          false, true, true, false)),
-                                          EmptyString)))))))))))))))))))))))))) :: [])) :: (
-    (mkcut (S (S (S (S O)))) (S (S (S (S (S (S (S (S (S (S (S (S (S (S (S (S
-      (S (S (S (S O)))))))))))))))))))) (String ((Ascii (true, true, false,
-      false, false, false, true, false)), (String ((Ascii (true, true, true,
-      true, false, true, true, false)), (String ((Ascii (true, false, true,
-      true, false, true, true, false)), (String ((Ascii (false, false, false,
-      false, true, true, true, false)), (String ((Ascii (true, false, false,
-      false, false, true, true, false)), (String ((Ascii (false, true, true,
-      true, false, true, true, false)), (String ((Ascii (true, false, false,
-      true, true, true, true, false)), (String ((Ascii (false, true, true,
-      true, false, false, true, false)), (String ((Ascii (true, false, false,
-      false, false, true, true, false)), (String ((Ascii (true, false, true,
-      true, false, true, true, false)), (String ((Ascii (true, false, true,
-      false, false, true, true, false)), EmptyString))))))))))))))))))))))
-      ((String ((Ascii (false, false, false, false, true, true, true,
-      false)), (String ((Ascii (true, false, false, false, false, true, true,
-      false)), (String ((Ascii (false, true, false, false, true, true, true,
-      false)), (String ((Ascii (true, true, false, false, true, true, true,
-      false)), (String ((Ascii (true, false, true, false, false, true, true,
-      false)), (String ((Ascii (true, true, false, false, true, false, true,
-      false)), (String ((Ascii (false, false, true, false, true, true, true,
-      false)), (String ((Ascii (false, true, false, false, true, true, true,
-      false)), (String ((Ascii (true, false, false, true, false, true, true,
-      false)), (String ((Ascii (false, true, true, true, false, true, true,
-      false)), (String ((Ascii (true, true, true, false, false, true, true,
-      false)), (String ((Ascii (false, true, true, false, false, false, true,
-      false)), (String ((Ascii (true, false, false, true, false, true, true,
-      false)), (String ((Ascii (true, false, true, false, false, true, true,
-      false)), (String ((Ascii (false, false, true, true, false, true, true,
-      false)), (String ((Ascii (false, false, true, false, false, true, true,
-      false)), (String ((Ascii (true, true, true, false, true, false, true,
-      false)), (String ((Ascii (true, false, false, true, false, true, true,
-      false)), (String ((Ascii (false, false, true, false, true, true, true,
-      false)), (String ((Ascii (false, false, false, true, false, true, true,
-      false)), (String ((Ascii (true, true, true, true, false, false, true,
-      false)), (String ((Ascii (false, false, false, false, true, true, true,
-      false)), (String ((Ascii (false, false, true, false, true, true, true,
-      false)), (String ((Ascii (true, true, false, false, true, true, true,
-      false)),
-      EmptyString)))))))))))))))))))))))))))))))))))))))))))))))) :: [])) :: (
-    (mkcut (S (S (S (S (S (S (S (S (S (S (S (S (S (S (S (S (S (S (S (S
-      O)))))))))))))))))))) (S (S (S (S (S (S (S (S (S (S (S (S (S (S (S (S
-      (S (S (S (S (S (S (S (S (S (S (S (S (S (S (S (S (S (S (S (S (S (S (S (S
-      O)))))))))))))))))))))))))))))))))))))))) (String ((Ascii (true, true,
-      false, false, false, false, true, false)), (String ((Ascii (true, true,
-      true, true, false, true, true, false)), (String ((Ascii (true, false,
-      true, true, false, true, true, false)), (String ((Ascii (false, false,
-      false, false, true, true, true, false)), (String ((Ascii (true, false,
-      false, false, false, true, true, false)), (String ((Ascii (false, true,
-      true, true, false, true, true, false)), (String ((Ascii (true, false,
-      false, true, true, true, true, false)), (String ((Ascii (false, false,
-      true, false, false, false, true, false)), (String ((Ascii (true, false,
-      false, true, false, true, true, false)), (String ((Ascii (true, true,
-      false, false, true, true, true, false)), (String ((Ascii (true, true,
-      false, false, false, true, true, false)), (String ((Ascii (false, true,
-      false, false, true, true, true, false)), (String ((Ascii (true, false,
-      true, false, false, true, true, false)), (String ((Ascii (false, false,
-      true, false, true, true, true, false)), (String ((Ascii (true, false,
-      false, true, false, true, true, false)), (String ((Ascii (true, true,
-      true, true, false, true, true, false)), (String ((Ascii (false, true,
-      true, true, false, true, true, false)), (String ((Ascii (true, false,
-      false, false, false, true, true, false)), (String ((Ascii (false, true,
-      false, false, true, true, true, false)), (String ((Ascii (true, false,
-      false, true, true, true, true, false)), (String ((Ascii (false, false,
-      true, false, false, false, true, false)), (String ((Ascii (true, false,
-      false, false, false, true, true, false)), (String ((Ascii (false,
-      false, true, false, true, true, true, false)), (String ((Ascii (true,
-      false, false, false, false, true, true, false)),
-      EmptyString)))))))))))))))))))))))))))))))))))))))))))))))) ((String
-      ((Ascii (false, false, false, false, true, true, true, false)), (String
-      ((Ascii (true, false, false, false, false, true, true, false)), (String
-      ((Ascii (false, true, false, false, true, true, true, false)), (String
-      ((Ascii (true, true, false, false, true, true, true, false)), (String
-      ((Ascii (true, false, true, false, false, true, true, false)), (String
-      ((Ascii (true, true, false, false, true, false, true, false)), (String
-      ((Ascii (false, false, true, false, true, true, true, false)), (String
-      ((Ascii (false, true, false, false, true, true, true, false)), (String
-      ((Ascii (true, false, false, true, false, true, true, false)), (String
-      ((Ascii (false, true, true, true, false, true, true, false)), (String
-      ((Ascii (true, true, true, false, false, true, true, false)), (String
-      ((Ascii (false, true, true, false, false, false, true, false)), (String
-      ((Ascii (true, false, false, true, false, true, true, false)), (String
-      ((Ascii (true, false, true, false, false, true, true, false)), (String
-      ((Ascii (false, false, true, true, false, true, true, false)), (String
-      ((Ascii (false, false, true, false, false, true, true, false)), (String
-      ((Ascii (true, true, true, false, true, false, true, false)), (String
-      ((Ascii (true, false, false, true, false, true, true, false)), (String
-      ((Ascii (false, false, true, false, true, true, true, false)), (String
-      ((Ascii (false, false, false, true, false, true, true, false)), (String
-      ((Ascii (true, true, true, true, false, false, true, false)), (String
-      ((Ascii (false, false, false, false, true, true, true, false)), (String
-      ((Ascii (false, false, true, false, true, true, true, false)), (String
-      ((Ascii (true, true, false, false, true, true, true, false)),
-      EmptyString)))))))))))))))))))))))))))))))))))))))))))))))) :: [])) :: (
-    (mkcut (S (S (S (S (S (S (S (S (S (S (S (S (S (S (S (S (S (S (S (S (S (S
-      (S (S (S (S (S (S (S (S (S (S (S (S (S (S (S (S (S (S
-      O)))))))))))))))))))))))))))))))))))))))) (S (S (S (S (S (S (S (S (S (S
-      (S (S (S (S (S (S (S (S (S (S (S (S (S (S (S (S (S (S (S (S (S (S (S (S
-      (S (S (S (S (S (S (S (S (S (S (S (S (S (S (S (S
-      O)))))))))))))))))))))))))))))))))))))))))))))))))) (String ((Ascii
-      (true, true, false, false, false, false, true, false)), (String ((Ascii
-      (true, true, true, true, false, true, true, false)), (String ((Ascii
-      (true, false, true, true, false, true, true, false)), (String ((Ascii
-      (false, false, false, false, true, true, true, false)), (String ((Ascii
-      (true, false, false, false, false, true, true, false)), (String ((Ascii
-      (false, true, true, true, false, true, true, false)), (String ((Ascii
-      (true, false, false, true, true, true, true, false)), (String ((Ascii
-      (true, false, false, true, false, false, true, false)), (String ((Ascii
-      (false, false, true, false, false, true, true, false)), (String ((Ascii
-      (true, false, true, false, false, true, true, false)), (String ((Ascii
-      (false, true, true, true, false, true, true, false)), (String ((Ascii
-      (false, false, true, false, true, true, true, false)), (String ((Ascii
-      (true, false, false, true, false, true, true, false)), (String ((Ascii
-      (false, true, true, false, false, true, true, false)), (String ((Ascii
-      (true, false, false, true, false, true, true, false)), (String ((Ascii
-      (true, true, false, false, false, true, true, false)), (String ((Ascii
-      (true, false, false, false, false, true, true, false)), (String ((Ascii
-      (false, false, true, false, true, true, true, false)), (String ((Ascii
-      (true, false, false, true, false, true, true, false)), (String ((Ascii
-      (true, true, true, true, false, true, true, false)), (String ((Ascii
-      (false, true, true, true, false, true, true, false)),
-      EmptyString)))))))))))))))))))))))))))))))))))))))))) ((String ((Ascii
-      (false, false, false, false, true, true, true, false)), (String ((Ascii
-      (true, false, false, false, false, true, true, false)), (String ((Ascii
-      (false, true, false, false, true, true, true, false)), (String ((Ascii
-      (true, true, false, false, true, true, true, false)), (String ((Ascii
-      (true, false, true, false, false, true, true, false)), (String ((Ascii
-      (true, true, false, false, true, false, true, false)), (String ((Ascii
-      (false, false, true, false, true, true, true, false)), (String ((Ascii
-      (false, true, false, false, true, true, true, false)), (String ((Ascii
-      (true, false, false, true, false, true, true, false)), (String ((Ascii
-      (false, true, true, true, false, true, true, false)), (String ((Ascii
-      (true, true, true, false, false, true, true, false)), (String ((Ascii
-      (false, true, true, false, false, false, true, false)), (String ((Ascii
-      (true, false, false, true, false, true, true, false)), (String ((Ascii
-      (true, false, true, false, false, true, true, false)), (String ((Ascii
-      (false, false, true, true, false, true, true, false)), (String ((Ascii
-      (false, false, true, false, false, true, true, false)), (String ((Ascii
-      (true, true, true, false, true, false, true, false)), (String ((Ascii
-      (true, false, false, true, false, true, true, false)), (String ((Ascii
-      (false, false, true, false, true, true, true, false)), (String ((Ascii
-      (false, false, false, true, false, true, true, false)), (String ((Ascii
-      (true, true, true, true, false, false, true, false)), (String ((Ascii
-      (false, false, false, false, true, true, true, false)), (String ((Ascii
-      (false, false, true, false, true, true, true, false)), (String ((Ascii
-      (true, true, false, false, true, true, true, false)),
-      EmptyString)))))))))))))))))))))))))))))))))))))))))))))))) :: [])) :: (
-    (mkcut (S (S (S (S (S (S (S (S (S (S (S (S (S (S (S (S (S (S (S (S (S (S
-      (S (S (S (S (S (S (S (S (S (S (S (S (S (S (S (S (S (S (S (S (S (S (S (S
-      (S (S (S (S O)))))))))))))))))))))))))))))))))))))))))))))))))) (S (S
-      (S (S (S (S (S (S (S (S (S (S (S (S (S (S (S (S (S (S (S (S (S (S (S (S
-      (S (S (S (S (S (S (S (S (S (S (S (S (S (S (S (S (S (S (S (S (S (S (S (S
-      (S (S (S O))))))))))))))))))))))))))))))))))))))))))))))))))))) (String
-      ((Ascii (true, true, false, false, true, false, true, false)), (String
-      ((Ascii (false, false, true, false, true, true, true, false)), (String
-      ((Ascii (true, false, false, false, false, true, true, false)), (String
-      ((Ascii (false, true, true, true, false, true, true, false)), (String
-      ((Ascii (false, false, true, false, false, true, true, false)), (String
-      ((Ascii (true, false, false, false, false, true, true, false)), (String
-      ((Ascii (false, true, false, false, true, true, true, false)), (String
-      ((Ascii (false, false, true, false, false, true, true, false)), (String
-      ((Ascii (true, false, true, false, false, false, true, false)), (String
-      ((Ascii (false, true, true, true, false, true, true, false)), (String
-      ((Ascii (false, false, true, false, true, true, true, false)), (String
-      ((Ascii (false, true, false, false, true, true, true, false)), (String
-      ((Ascii (true, false, false, true, true, true, true, false)), (String
-      ((Ascii (true, true, false, false, false, false, true, false)), (String
-      ((Ascii (false, false, true, true, false, true, true, false)), (String
-      ((Ascii (true, false, false, false, false, true, true, false)), (String
-      ((Ascii (true, true, false, false, true, true, true, false)), (String
-      ((Ascii (true, true, false, false, true, true, true, false)), (String
-      ((Ascii (true, true, false, false, false, false, true, false)), (String
-      ((Ascii (true, true, true, true, false, true, true, false)), (String
-      ((Ascii (false, false, true, false, false, true, true, false)), (String
-      ((Ascii (true, false, true, false, false, true, true, false)),
-      EmptyString)))))))))))))))))))))))))))))))))))))))))))) []) :: (
-    (mkcut (S (S (S (S (S (S (S (S (S (S (S (S (S (S (S (S (S (S (S (S (S (S
-      (S (S (S (S (S (S (S (S (S (S (S (S (S (S (S (S (S (S (S (S (S (S (S (S
-      (S (S (S (S (S (S (S
-      O))))))))))))))))))))))))))))))))))))))))))))))))))))) (S (S (S (S (S
-      (S (S (S (S (S (S (S (S (S (S (S (S (S (S (S (S (S (S (S (S (S (S (S (S
-      (S (S (S (S (S (S (S (S (S (S (S (S (S (S (S (S (S (S (S (S (S (S (S (S
-      (S (S (S (S (S (S (S (S (S (S
-      O)))))))))))))))))))))))))))))))))))))))))))))))))))))))))))))))
-      (String ((Ascii (true, true, false, false, false, false, true, false)),
-      (String ((Ascii (true, true, true, true, false, true, true, false)),
-      (String ((Ascii (true, false, true, true, false, true, true, false)),
-      (String ((Ascii (false, false, false, false, true, true, true, false)),
-      (String ((Ascii (true, false, false, false, false, true, true, false)),
-      (String ((Ascii (false, true, true, true, false, true, true, false)),
-      (String ((Ascii (true, false, false, true, true, true, true, false)),
-      (String ((Ascii (true, false, true, false, false, false, true, false)),
-      (String ((Ascii (false, true, true, true, false, true, true, false)),
-      (String ((Ascii (false, false, true, false, true, true, true, false)),
-      (String ((Ascii (false, true, false, false, true, true, true, false)),
-      (String ((Ascii (true, false, false, true, true, true, true, false)),
-      (String ((Ascii (false, false, true, false, false, false, true,
-      false)), (String ((Ascii (true, false, true, false, false, true, true,
-      false)), (String ((Ascii (true, true, false, false, true, true, true,
-      false)), (String ((Ascii (true, true, false, false, false, true, true,
-      false)), (String ((Ascii (false, true, false, false, true, true, true,
-      false)), (String ((Ascii (true, false, false, true, false, true, true,
-      false)), (String ((Ascii (false, false, false, false, true, true, true,
-      false)), (String ((Ascii (false, false, true, false, true, true, true,
-      false)), (String ((Ascii (true, false, false, true, false, true, true,
-      false)), (String ((Ascii (true, true, true, true, false, true, true,
-      false)), (String ((Ascii (false, true, true, true, false, true, true,
-      false)), EmptyString))))))))))))))))))))))))))))))))))))))))))))))
-      ((String ((Ascii (false, false, false, false, true, true, true,
-      false)), (String ((Ascii (true, false, false, false, false, true, true,
-      false)), (String ((Ascii (false, true, false, false, true, true, true,
-      false)), (String ((Ascii (true, true, false, false, true, true, true,
-      false)), (String ((Ascii (true, false, true, false, false, true, true,
-      false)), (String ((Ascii (true, true, false, false, true, false, true,
-      false)), (String ((Ascii (false, false, true, false, true, true, true,
-      false)), (String ((Ascii (false, true, false, false, true, true, true,
-      false)), (String ((Ascii (true, false, false, true, false, true, true,
-      false)), (String ((Ascii (false, true, true, true, false, true, true,
-      false)), (String ((Ascii (true, true, true, false, false, true, true,
-      false)), (String ((Ascii (false, true, true, false, false, false, true,
-      false)), (String ((Ascii (true, false, false, true, false, true, true,
-      false)), (String ((Ascii (true, false, true, false, false, true, true,
-      false)), (String ((Ascii (false, false, true, true, false, true, true,
-      false)), (String ((Ascii (false, false, true, false, false, true, true,
-      false)), (String ((Ascii (true, true, true, false, true, false, true,
-      false)), (String ((Ascii (true, false, false, true, false, true, true,
-      false)), (String ((Ascii (false, false, true, false, true, true, true,
-      false)), (String ((Ascii (false, false, false, true, false, true, true,
-      false)), (String ((Ascii (true, true, true, true, false, false, true,
-      false)), (String ((Ascii (false, false, false, false, true, true, true,
-      false)), (String ((Ascii (false, false, true, false, true, true, true,
-      false)), (String ((Ascii (true, true, false, false, true, true, true,
-      false)),
-      EmptyString)))))))))))))))))))))))))))))))))))))))))))))))) :: [])) :: (
-    (mkcut (S (S (S (S (S (S (S (S (S (S (S (S (S (S (S (S (S (S (S (S (S (S
-      (S (S (S (S (S (S (S (S (S (S (S (S (S (S (S (S (S (S (S (S (S (S (S (S
-      (S (S (S (S (S (S (S (S (S (S (S (S (S (S (S (S (S
-      O))))))))))))))))))))))))))))))))))))))))))))))))))))))))))))))) (S (S
-      (S (S (S (S (S (S (S (S (S (S (S (S (S (S (S (S (S (S (S (S (S (S (S (S
-      (S (S (S (S (S (S (S (S (S (S (S (S (S (S (S (S (S (S (S (S (S (S (S (S
-      (S (S (S (S (S (S (S (S (S (S (S (S (S (S (S (S (S (S (S
-      O)))))))))))))))))))))))))))))))))))))))))))))))))))))))))))))))))))))
-      (String ((Ascii (true, true, false, false, false, false, true, false)),
-      (String ((Ascii (true, true, true, true, false, true, true, false)),
-      (String ((Ascii (true, false, true, true, false, true, true, false)),
-      (String ((Ascii (false, false, false, false, true, true, true, false)),
-      (String ((Ascii (true, false, false, false, false, true, true, false)),
-      (String ((Ascii (false, true, true, true, false, true, true, false)),
-      (String ((Ascii (true, false, false, true, true, true, true, false)),
-      (String ((Ascii (false, false, true, false, false, false, true,
-      false)), (String ((Ascii (true, false, true, false, false, true, true,
-      false)), (String ((Ascii (true, true, false, false, true, true, true,
-      false)), (String ((Ascii (true, true, false, false, false, true, true,
-      false)), (String ((Ascii (false, true, false, false, true, true, true,
-      false)), (String ((Ascii (true, false, false, true, false, true, true,
-      false)), (String ((Ascii (false, false, false, false, true, true, true,
-      false)), (String ((Ascii (false, false, true, false, true, true, true,
-      false)), (String ((Ascii (true, false, false, true, false, true, true,
-      false)), (String ((Ascii (false, true, true, false, true, true, true,
-      false)), (String ((Ascii (true, false, true, false, false, true, true,
-      false)), (String ((Ascii (false, false, true, false, false, false,
-      true, false)), (String ((Ascii (true, false, false, false, false, true,
-      true, false)), (String ((Ascii (false, false, true, false, true, true,
-      true, false)), (String ((Ascii (true, false, true, false, false, true,
-      true, false)), EmptyString))))))))))))))))))))))))))))))))))))))))))))
-      ((String ((Ascii (false, false, false, false, true, true, true,
-      false)), (String ((Ascii (true, false, false, false, false, true, true,
-      false)), (String ((Ascii (false, true, false, false, true, true, true,
-      false)), (String ((Ascii (true, true, false, false, true, true, true,
-      false)), (String ((Ascii (true, false, true, false, false, true, true,
-      false)), (String ((Ascii (true, true, false, false, true, false, true,
-      false)), (String ((Ascii (false, false, true, false, true, true, true,
-      false)), (String ((Ascii (false, true, false, false, true, true, true,
-      false)), (String ((Ascii (true, false, false, true, false, true, true,
-      false)), (String ((Ascii (false, true, true, true, false, true, true,
-      false)), (String ((Ascii (true, true, true, false, false, true, true,
-      false)), (String ((Ascii (false, true, true, false, false, false, true,
-      false)), (String ((Ascii (true, false, false, true, false, true, true,
-      false)), (String ((Ascii (true, false, true, false, false, true, true,
-      false)), (String ((Ascii (false, false, true, true, false, true, true,
-      false)), (String ((Ascii (false, false, true, false, false, true, true,
-      false)), (String ((Ascii (true, true, true, false, true, false, true,
-      false)), (String ((Ascii (true, false, false, true, false, true, true,
-      false)), (String ((Ascii (false, false, true, false, true, true, true,
-      false)), (String ((Ascii (false, false, false, true, false, true, true,
-      false)), (String ((Ascii (true, true, true, true, false, false, true,
-      false)), (String ((Ascii (false, false, false, false, true, true, true,
-      false)), (String ((Ascii (false, false, true, false, true, true, true,
-      false)), (String ((Ascii (true, true, false, false, true, true, true,
-      false)),
-      EmptyString)))))))))))))))))))))))))))))))))))))))))))))))) :: [])) :: (
-    (mkcut (S (S (S (S (S (S (S (S (S (S (S (S (S (S (S (S (S (S (S (S (S (S
-      (S (S (S (S (S (S (S (S (S (S (S (S (S (S (S (S (S (S (S (S (S (S (S (S
-      (S (S (S (S (S (S (S (S (S (S (S (S (S (S (S (S (S (S (S (S (S (S (S
-      O)))))))))))))))))))))))))))))))))))))))))))))))))))))))))))))))))))))
-      (S (S (S (S (S (S (S (S (S (S (S (S (S (S (S (S (S (S (S (S (S (S (S (S
-      (S (S (S (S (S (S (S (S (S (S (S (S (S (S (S (S (S (S (S (S (S (S (S (S
-      (S (S (S (S (S (S (S (S (S (S (S (S (S (S (S (S (S (S (S (S (S (S (S (S
-      (S (S (S
-      O)))))))))))))))))))))))))))))))))))))))))))))))))))))))))))))))))))))))))))
-      (String ((Ascii (true, false, true, false, false, false, true, false)),
-      (String ((Ascii (false, true, true, false, false, true, true, false)),
-      (String ((Ascii (false, true, true, false, false, true, true, false)),
-      (String ((Ascii (true, false, true, false, false, true, true, false)),
-      (String ((Ascii (true, true, false, false, false, true, true, false)),
-      (String ((Ascii (false, false, true, false, true, true, true, false)),
-      (String ((Ascii (true, false, false, true, false, true, true, false)),
-      (String ((Ascii (false, true, true, false, true, true, true, false)),
-      (String ((Ascii (true, false, true, false, false, true, true, false)),
-      (String ((Ascii (true, false, true, false, false, false, true, false)),
-      (String ((Ascii (false, true, true, true, false, true, true, false)),
-      (String ((Ascii (false, false, true, false, true, true, true, false)),
-      (String ((Ascii (false, true, false, false, true, true, true, false)),
-      (String ((Ascii (true, false, false, true, true, true, true, false)),
-      (String ((Ascii (false, false, true, false, false, false, true,
-      false)), (String ((Ascii (true, false, false, false, false, true, true,
-      false)), (String ((Ascii (false, false, true, false, true, true, true,
-      false)), (String ((Ascii (true, false, true, false, false, true, true,
-      false)), EmptyString)))))))))))))))))))))))))))))))))))) ((String
-      ((Ascii (false, true, true, false, true, true, true, false)), (String
-      ((Ascii (true, false, false, false, false, true, true, false)), (String
-      ((Ascii (false, false, true, true, false, true, true, false)), (String
-      ((Ascii (true, false, false, true, false, true, true, false)), (String
-      ((Ascii (false, false, true, false, false, true, true, false)), (String
-      ((Ascii (true, false, false, false, false, true, true, false)), (String
-      ((Ascii (false, false, true, false, true, true, true, false)), (String
-      ((Ascii (true, false, true, false, false, true, true, false)), (String
-      ((Ascii (true, true, false, false, true, false, true, false)), (String
-      ((Ascii (true, false, false, true, false, true, true, false)), (String
-      ((Ascii (true, false, true, true, false, true, true, false)), (String
-      ((Ascii (false, false, false, false, true, true, true, false)), (String
-      ((Ascii (false, false, true, true, false, true, true, false)), (String
-      ((Ascii (true, false, true, false, false, true, true, false)), (String
-      ((Ascii (false, false, true, false, false, false, true, false)),
-      (String ((Ascii (true, false, false, false, false, true, true, false)),
-      (String ((Ascii (false, false, true, false, true, true, true, false)),
-      (String ((Ascii (true, false, true, false, false, true, true, false)),
-      EmptyString)))))))))))))))))))))))))))))))))))) :: [])) :: ((mkcut (S
-                                                                    (S (S (S
-                                                                    (S (S (S
-                                                                    (S (S (S
-                                                                    (S (S (S
-                                                                    (S (S (S
-                                                                    (S (S (S
-                                                                    (S (S (S
-                                                                    (S (S (S
-                                                                    (S (S (S
-                                                                    (S (S (S
-                                                                    (S (S (S
-                                                                    (S (S (S
-                                                                    (S (S (S
-                                                                    (S (S (S
-                                                                    (S (S (S
-                                                                    (S (S (S
-                                                                    (S (S (S
-                                                                    (S (S (S
-                                                                    (S (S (S
-                                                                    (S (S (S
-                                                                    (S (S (S
-                                                                    (S (S (S
-                                                                    (S (S (S
-                                                                    (S (S (S
-                                                                    (S (S
-                                                                    O)))))))))))))))))))))))))))))))))))))))))))))))))))))))))))))))))))))))))))
-                                                                    (S (S (S
-                                                                    (S (S (S
-                                                                    (S (S (S
-                                                                    (S (S (S
-                                                                    (S (S (S
-                                                                    (S (S (S
-                                                                    (S (S (S
-                                                                    (S (S (S
-                                                                    (S (S (S
-                                                                    (S (S (S
-                                                                    (S (S (S
-                                                                    (S (S (S
-                                                                    (S (S (S
-                                                                    (S (S (S
-                                                                    (S (S (S
-                                                                    (S (S (S
-                                                                    (S (S (S
-                                                                    (S (S (S
-                                                                    (S (S (S
-                                                                    (S (S (S
-                                                                    (S (S (S
-                                                                    (S (S (S
-                                                                    (S (S (S
-                                                                    (S (S (S
-                                                                    (S (S (S
-                                                                    (S (S (S
-                                                                    O))))))))))))))))))))))))))))))))))))))))))))))))))))))))))))))))))))))))))))))
-                                                                    (String
-                                                                    ((Ascii
-                                                                    (true,
-                                                                    true,
-                                                                    false,
-                                                                    false,
-                                                                    true,
-                                                                    false,
-                                                                    true,
-                                                                    false)),
-                                                                    (String
-                                                                    ((Ascii
-                                                                    (true,
-                                                                    false,
-                                                                    true,
-                                                                    false,
-                                                                    false,
-                                                                    true,
-                                                                    true,
-                                                                    false)),
-                                                                    (String
-                                                                    ((Ascii
-                                                                    (false,
-                                                                    false,
-                                                                    true,
-                                                                    false,
-                                                                    true,
-                                                                    true,
-                                                                    true,
-                                                                    false)),
-                                                                    (String
-                                                                    ((Ascii
-                                                                    (false,
-                                                                    false,
-                                                                    true,
-                                                                    false,
-                                                                    true,
-                                                                    true,
-                                                                    true,
-                                                                    false)),
-                                                                    (String
-                                                                    ((Ascii
-                                                                    (false,
-                                                                    false,
-                                                                    true,
-                                                                    true,
-                                                                    false,
-                                                                    true,
-                                                                    true,
-                                                                    false)),
-                                                                    (String
-                                                                    ((Ascii
-                                                                    (true,
-                                                                    false,
-                                                                    true,
-                                                                    false,
-                                                                    false,
-                                                                    true,
-                                                                    true,
-                                                                    false)),
-                                                                    (String
-                                                                    ((Ascii
-                                                                    (true,
-                                                                    false,
-                                                                    true,
-                                                                    true,
-                                                                    false,
-                                                                    true,
-                                                                    true,
-                                                                    false)),
-                                                                    (String
-                                                                    ((Ascii
-                                                                    (true,
-                                                                    false,
-                                                                    true,
-                                                                    false,
-                                                                    false,
-                                                                    true,
-                                                                    true,
-                                                                    false)),
-                                                                    (String
-                                                                    ((Ascii
-                                                                    (false,
-                                                                    true,
-                                                                    true,
-                                                                    true,
-                                                                    false,
-                                                                    true,
-                                                                    true,
-                                                                    false)),
-                                                                    (String
-                                                                    ((Ascii
-                                                                    (false,
-                                                                    false,
-                                                                    true,
-                                                                    false,
-                                                                    true,
-                                                                    true,
-                                                                    true,
-                                                                    false)),
-                                                                    (String
-                                                                    ((Ascii
-                                                                    (false,
-                                                                    false,
-                                                                    true,
-                                                                    false,
-                                                                    false,
-                                                                    false,
-                                                                    true,
-                                                                    false)),
-                                                                    (String
-                                                                    ((Ascii
-                                                                    (true,
-                                                                    false,
-                                                                    false,
-                                                                    false,
-                                                                    false,
-                                                                    true,
-                                                                    true,
-                                                                    false)),
-                                                                    (String
-                                                                    ((Ascii
-                                                                    (false,
-                                                                    false,
-                                                                    true,
-                                                                    false,
-                                                                    true,
-                                                                    true,
-                                                                    true,
-                                                                    false)),
-                                                                    (String
-                                                                    ((Ascii
-                                                                    (true,
-                                                                    false,
-                                                                    true,
-                                                                    false,
-                                                                    false,
-                                                                    true,
-                                                                    true,
-                                                                    false)),
-                                                                    EmptyString))))))))))))))))))))))))))))
-                                                                    ((String
-                                                                    ((Ascii
-                                                                    (false,
-                                                                    true,
-                                                                    true,
-                                                                    false,
-                                                                    true,
-                                                                    true,
-                                                                    true,
-                                                                    false)),
-                                                                    (String
-                                                                    ((Ascii
-                                                                    (true,
-                                                                    false,
-                                                                    false,
-                                                                    false,
-                                                                    false,
-                                                                    true,
-                                                                    true,
-                                                                    false)),
-                                                                    (String
-                                                                    ((Ascii
-                                                                    (false,
-                                                                    false,
-                                                                    true,
-                                                                    true,
-                                                                    false,
-                                                                    true,
-                                                                    true,
-                                                                    false)),
-                                                                    (String
-                                                                    ((Ascii
-                                                                    (true,
-                                                                    false,
-                                                                    false,
-                                                                    true,
-                                                                    false,
-                                                                    true,
-                                                                    true,
-                                                                    false)),
-                                                                    (String
-                                                                    ((Ascii
-                                                                    (false,
-                                                                    false,
-                                                                    true,
-                                                                    false,
-                                                                    false,
-                                                                    true,
-                                                                    true,
-                                                                    false)),
-                                                                    (String
-                                                                    ((Ascii
-                                                                    (true,
-                                                                    false,
-                                                                    false,
-                                                                    false,
-                                                                    false,
-                                                                    true,
-                                                                    true,
-                                                                    false)),
-                                                                    (String
-                                                                    ((Ascii
-                                                                    (false,
-                                                                    false,
-                                                                    true,
-                                                                    false,
-                                                                    true,
-                                                                    true,
-                                                                    true,
-                                                                    false)),
-                                                                    (String
-                                                                    ((Ascii
-                                                                    (true,
-                                                                    false,
-                                                                    true,
-                                                                    false,
-                                                                    false,
-                                                                    true,
-                                                                    true,
-                                                                    false)),
-                                                                    (String
-                                                                    ((Ascii
-                                                                    (true,
-                                                                    true,
-                                                                    false,
-                                                                    false,
-                                                                    true,
-                                                                    false,
-                                                                    true,
-                                                                    false)),
-                                                                    (String
-                                                                    ((Ascii
-                                                                    (true,
-                                                                    false,
-                                                                    true,
-                                                                    false,
-                                                                    false,
-                                                                    true,
-                                                                    true,
-                                                                    false)),
-                                                                    (String
-                                                                    ((Ascii
-                                                                    (false,
-                                                                    false,
-                                                                    true,
-                                                                    false,
-                                                                    true,
-                                                                    true,
-                                                                    true,
-                                                                    false)),
-                                                                    (String
-                                                                    ((Ascii
-                                                                    (false,
-                                                                    false,
-                                                                    true,
-                                                                    false,
-                                                                    true,
-                                                                    true,
-                                                                    true,
-                                                                    false)),
-                                                                    (String
-                                                                    ((Ascii
-                                                                    (false,
-                                                                    false,
-                                                                    true,
-                                                                    true,
-                                                                    false,
-                                                                    true,
-                                                                    true,
-                                                                    false)),
-                                                                    (String
-                                                                    ((Ascii
-                                                                    (true,
-                                                                    false,
-                                                                    true,
-                                                                    false,
-                                                                    false,
-                                                                    true,
-                                                                    true,
-                                                                    false)),
-                                                                    (String
-                                                                    ((Ascii
-                                                                    (true,
-                                                                    false,
-                                                                    true,
-                                                                    true,
-                                                                    false,
-                                                                    true,
-                                                                    true,
-                                                                    false)),
-                                                                    (String
-                                                                    ((Ascii
-                                                                    (true,
-                                                                    false,
-                                                                    true,
-                                                                    false,
-                                                                    false,
-                                                                    true,
-                                                                    true,
-                                                                    false)),
-                                                                    (String
-                                                                    ((Ascii
-                                                                    (false,
-                                                                    true,
-                                                                    true,
-                                                                    true,
-                                                                    false,
-                                                                    true,
-                                                                    true,
-                                                                    false)),
-                                                                    (String
-                                                                    ((Ascii
-                                                                    (false,
-                                                                    false,
-                                                                    true,
-                                                                    false,
-                                                                    true,
-                                                                    true,
-                                                                    true,
-                                                                    false)),
-                                                                    (String
-                                                                    ((Ascii
-                                                                    (false,
-                                                                    false,
-                                                                    true,
-                                                                    false,
-                                                                    false,
-                                                                    false,
-                                                                    true,
-                                                                    false)),
-                                                                    (String
-                                                                    ((Ascii
-                                                                    (true,
-                                                                    false,
-                                                                    false,
-                                                                    false,
-                                                                    false,
-                                                                    true,
-                                                                    true,
-                                                                    false)),
-                                                                    (String
-                                                                    ((Ascii
-                                                                    (false,
-                                                                    false,
-                                                                    true,
-                                                                    false,
-                                                                    true,
-                                                                    true,
-                                                                    true,
-                                                                    false)),
-                                                                    (String
-                                                                    ((Ascii
-                                                                    (true,
-                                                                    false,
-                                                                    true,
-                                                                    false,
-                                                                    false,
-                                                                    true,
-                                                                    true,
-                                                                    false)),
-                                                                    EmptyString)))))))))))))))))))))))))))))))))))))))))))) :: [])) :: (
-    (mkcut (S (S (S (S (S (S (S (S (S (S (S (S (S (S (S (S (S (S (S (S (S (S
-      (S (S (S (S (S (S (S (S (S (S (S (S (S (S (S (S (S (S (S (S (S (S (S (S
-      (S (S (S (S (S (S (S (S (S (S (S (S (S (S (S (S (S (S (S (S (S (S (S (S
-      (S (S (S (S (S (S (S (S
-      O))))))))))))))))))))))))))))))))))))))))))))))))))))))))))))))))))))))))))))))
-      (S (S (S (S (S (S (S (S (S (S (S (S (S (S (S (S (S (S (S (S (S (S (S (S
-      (S (S (S (S (S (S (S (S (S (S (S (S (S (S (S (S (S (S (S (S (S (S (S (S
-      (S (S (S (S (S (S (S (S (S (S (S (S (S (S (S (S (S (S (S (S (S (S (S (S
-      (S (S (S (S (S (S (S
-      O)))))))))))))))))))))))))))))))))))))))))))))))))))))))))))))))))))))))))))))))
-      (String ((Ascii (true, true, true, true, false, false, true, false)),
-      (String ((Ascii (false, true, false, false, true, true, true, false)),
-      (String ((Ascii (true, false, false, true, false, true, true, false)),
-      (String ((Ascii (true, true, true, false, false, true, true, false)),
-      (String ((Ascii (true, false, false, true, false, true, true, false)),
-      (String ((Ascii (false, true, true, true, false, true, true, false)),
-      (String ((Ascii (true, false, false, false, false, true, true, false)),
-      (String ((Ascii (false, false, true, false, true, true, true, false)),
-      (String ((Ascii (true, true, true, true, false, true, true, false)),
-      (String ((Ascii (false, true, false, false, true, true, true, false)),
-      (String ((Ascii (true, true, false, false, true, false, true, false)),
-      (String ((Ascii (false, false, true, false, true, true, true, false)),
-      (String ((Ascii (true, false, false, false, false, true, true, false)),
-      (String ((Ascii (false, false, true, false, true, true, true, false)),
-      (String ((Ascii (true, false, true, false, true, true, true, false)),
-      (String ((Ascii (true, true, false, false, true, true, true, false)),
-      (String ((Ascii (true, true, false, false, false, false, true, false)),
-      (String ((Ascii (true, true, true, true, false, true, true, false)),
-      (String ((Ascii (false, false, true, false, false, true, true, false)),
-      (String ((Ascii (true, false, true, false, false, true, true, false)),
-      EmptyString)))))))))))))))))))))))))))))))))))))))) ((String ((Ascii
-      (false, false, false, false, true, true, true, false)), (String ((Ascii
-      (true, false, false, false, false, true, true, false)), (String ((Ascii
-      (false, true, false, false, true, true, true, false)), (String ((Ascii
-      (true, true, false, false, true, true, true, false)), (String ((Ascii
-      (true, false, true, false, false, true, true, false)), (String ((Ascii
-      (false, true, true, true, false, false, true, false)), (String ((Ascii
-      (true, false, true, false, true, true, true, false)), (String ((Ascii
-      (true, false, true, true, false, true, true, false)), (String ((Ascii
-      (false, true, true, false, false, false, true, false)), (String ((Ascii
-      (true, false, false, true, false, true, true, false)), (String ((Ascii
-      (true, false, true, false, false, true, true, false)), (String ((Ascii
-      (false, false, true, true, false, true, true, false)), (String ((Ascii
-      (false, false, true, false, false, true, true, false)),
-      EmptyString)))))))))))))))))))))))))) :: [])) :: ((mkcut (S (S (S (S (S
-                                                          (S (S (S (S (S (S
-                                                          (S (S (S (S (S (S
-                                                          (S (S (S (S (S (S
-                                                          (S (S (S (S (S (S
-                                                          (S (S (S (S (S (S
-                                                          (S (S (S (S (S (S
-                                                          (S (S (S (S (S (S
-                                                          (S (S (S (S (S (S
-                                                          (S (S (S (S (S (S
-                                                          (S (S (S (S (S (S
-                                                          (S (S (S (S (S (S
-                                                          (S (S (S (S (S (S
-                                                          (S (S
-                                                          O)))))))))))))))))))))))))))))))))))))))))))))))))))))))))))))))))))))))))))))))
-                                                          (S (S (S (S (S (S
-                                                          (S (S (S (S (S (S
-                                                          (S (S (S (S (S (S
-                                                          (S (S (S (S (S (S
-                                                          (S (S (S (S (S (S
-                                                          (S (S (S (S (S (S
-                                                          (S (S (S (S (S (S
-                                                          (S (S (S (S (S (S
-                                                          (S (S (S (S (S (S
-                                                          (S (S (S (S (S (S
-                                                          (S (S (S (S (S (S
-                                                          (S (S (S (S (S (S
-                                                          (S (S (S (S (S (S
-                                                          (S (S (S (S (S (S
-                                                          (S (S (S
-                                                          O)))))))))))))))))))))))))))))))))))))))))))))))))))))))))))))))))))))))))))))))))))))))
-                                                          (String ((Ascii
-                                                          (true, true, true,
-                                                          true, false, false,
-                                                          true, false)),
-                                                          (String ((Ascii
-                                                          (false, false,
-                                                          true, false, false,
-                                                          false, true,
-                                                          false)), (String
-                                                          ((Ascii (false,
-                                                          true, true, false,
-                                                          false, false, true,
-                                                          false)), (String
-                                                          ((Ascii (true,
-                                                          false, false, true,
-                                                          false, false, true,
-                                                          false)), (String
-                                                          ((Ascii (true,
-                                                          false, false, true,
-                                                          false, false, true,
-                                                          false)), (String
-                                                          ((Ascii (false,
-                                                          false, true, false,
-                                                          false, true, true,
-                                                          false)), (String
-                                                          ((Ascii (true,
-                                                          false, true, false,
-                                                          false, true, true,
-                                                          false)), (String
-                                                          ((Ascii (false,
-                                                          true, true, true,
-                                                          false, true, true,
-                                                          false)), (String
-                                                          ((Ascii (false,
-                                                          false, true, false,
-                                                          true, true, true,
-                                                          false)), (String
-                                                          ((Ascii (true,
-                                                          false, false, true,
-                                                          false, true, true,
-                                                          false)), (String
-                                                          ((Ascii (false,
-                                                          true, true, false,
-                                                          false, true, true,
-                                                          false)), (String
-                                                          ((Ascii (true,
-                                                          false, false, true,
-                                                          false, true, true,
-                                                          false)), (String
-                                                          ((Ascii (true,
-                                                          true, false, false,
-                                                          false, true, true,
-                                                          false)), (String
-                                                          ((Ascii (true,
-                                                          false, false,
-                                                          false, false, true,
-                                                          true, false)),
-                                                          (String ((Ascii
-                                                          (false, false,
-                                                          true, false, true,
-                                                          true, true,
-                                                          false)), (String
-                                                          ((Ascii (true,
-                                                          false, false, true,
-                                                          false, true, true,
-                                                          false)), (String
-                                                          ((Ascii (true,
-                                                          true, true, true,
-                                                          false, true, true,
-                                                          false)), (String
-                                                          ((Ascii (false,
-                                                          true, true, true,
-                                                          false, true, true,
-                                                          false)),
-                                                          EmptyString))))))))))))))))))))))))))))))))))))
-                                                          ((String ((Ascii
-                                                          (false, false,
-                                                          false, false, true,
-                                                          true, true,
-                                                          false)), (String
-                                                          ((Ascii (true,
-                                                          false, false,
-                                                          false, false, true,
-                                                          true, false)),
-                                                          (String ((Ascii
-                                                          (false, true,
-                                                          false, false, true,
-                                                          true, true,
-                                                          false)), (String
-                                                          ((Ascii (true,
-                                                          true, false, false,
-                                                          true, true, true,
-                                                          false)), (String
-                                                          ((Ascii (true,
-                                                          false, true, false,
-                                                          false, true, true,
-                                                          false)), (String
-                                                          ((Ascii (true,
-                                                          true, false, false,
-                                                          true, false, true,
-                                                          false)), (String
-                                                          ((Ascii (false,
-                                                          false, true, false,
-                                                          true, true, true,
-                                                          false)), (String
-                                                          ((Ascii (false,
-                                                          true, false, false,
-                                                          true, true, true,
-                                                          false)), (String
-                                                          ((Ascii (true,
-                                                          false, false, true,
-                                                          false, true, true,
-                                                          false)), (String
-                                                          ((Ascii (false,
-                                                          true, true, true,
-                                                          false, true, true,
-                                                          false)), (String
-                                                          ((Ascii (true,
-                                                          true, true, false,
-                                                          false, true, true,
-                                                          false)), (String
-                                                          ((Ascii (false,
-                                                          true, true, false,
-                                                          false, false, true,
-                                                          false)), (String
-                                                          ((Ascii (true,
-                                                          false, false, true,
-                                                          false, true, true,
-                                                          false)), (String
-                                                          ((Ascii (true,
-                                                          false, true, false,
-                                                          false, true, true,
-                                                          false)), (String
-                                                          ((Ascii (false,
-                                                          false, true, true,
-                                                          false, true, true,
-                                                          false)), (String
-                                                          ((Ascii (false,
-                                                          false, true, false,
-                                                          false, true, true,
-                                                          false)), (String
-                                                          ((Ascii (true,
-                                                          true, true, false,
-                                                          true, false, true,
-                                                          false)), (String
-                                                          ((Ascii (true,
-                                                          false, false, true,
-                                                          false, true, true,
-                                                          false)), (String
-                                                          ((Ascii (false,
-                                                          false, true, false,
-                                                          true, true, true,
-                                                          false)), (String
-                                                          ((Ascii (false,
-                                                          false, false, true,
-                                                          false, true, true,
-                                                          false)), (String
-                                                          ((Ascii (true,
-                                                          true, true, true,
-                                                          false, false, true,
-                                                          false)), (String
-                                                          ((Ascii (false,
-                                                          false, false,
-                                                          false, true, true,
-                                                          true, false)),
-                                                          (String ((Ascii
-                                                          (false, false,
-                                                          true, false, true,
-                                                          true, true,
-                                                          false)), (String
-                                                          ((Ascii (true,
-                                                          true, false, false,
-                                                          true, true, true,
-                                                          false)),
-                                                          EmptyString)))))))))))))))))))))))))))))))))))))))))))))))) :: [])) :: (
-    (mkcut (S (S (S (S (S (S (S (S (S (S (S (S (S (S (S (S (S (S (S (S (S (S
-      (S (S (S (S (S (S (S (S (S (S (S (S (S (S (S (S (S (S (S (S (S (S (S (S
-      (S (S (S (S (S (S (S (S (S (S (S (S (S (S (S (S (S (S (S (S (S (S (S (S
-      (S (S (S (S (S (S (S (S (S (S (S (S (S (S (S (S (S
-      O)))))))))))))))))))))))))))))))))))))))))))))))))))))))))))))))))))))))))))))))))))))))
-      (S (S (S (S (S (S (S (S (S (S (S (S (S (S (S (S (S (S (S (S (S (S (S (S
-      (S (S (S (S (S (S (S (S (S (S (S (S (S (S (S (S (S (S (S (S (S (S (S (S
-      (S (S (S (S (S (S (S (S (S (S (S (S (S (S (S (S (S (S (S (S (S (S (S (S
-      (S (S (S (S (S (S (S (S (S (S (S (S (S (S (S (S (S (S (S (S (S (S
-      O))))))))))))))))))))))))))))))))))))))))))))))))))))))))))))))))))))))))))))))))))))))))))))))
-      (String ((Ascii (false, true, false, false, false, false, true,
-      false)), (String ((Ascii (true, false, false, false, false, true, true,
-      false)), (String ((Ascii (false, false, true, false, true, true, true,
-      false)), (String ((Ascii (true, true, false, false, false, true, true,
-      false)), (String ((Ascii (false, false, false, true, false, true, true,
-      false)), (String ((Ascii (false, true, true, true, false, false, true,
-      false)), (String ((Ascii (true, false, true, false, true, true, true,
-      false)), (String ((Ascii (true, false, true, true, false, true, true,
-      false)), (String ((Ascii (false, true, false, false, false, true, true,
-      false)), (String ((Ascii (true, false, true, false, false, true, true,
-      false)), (String ((Ascii (false, true, false, false, true, true, true,
-      false)), EmptyString)))))))))))))))))))))) ((String ((Ascii (false,
-      false, false, false, true, true, true, false)), (String ((Ascii (true,
-      false, false, false, false, true, true, false)), (String ((Ascii
-      (false, true, false, false, true, true, true, false)), (String ((Ascii
-      (true, true, false, false, true, true, true, false)), (String ((Ascii
-      (true, false, true, false, false, true, true, false)), (String ((Ascii
-      (false, true, true, true, false, false, true, false)), (String ((Ascii
-      (true, false, true, false, true, true, true, false)), (String ((Ascii
-      (true, false, true, true, false, true, true, false)), (String ((Ascii
-      (false, true, true, false, false, false, true, false)), (String ((Ascii
-      (true, false, false, true, false, true, true, false)), (String ((Ascii
-      (true, false, true, false, false, true, true, false)), (String ((Ascii
-      (false, false, true, true, false, true, true, false)), (String ((Ascii
-      (false, false, true, false, false, true, true, false)),
-      EmptyString)))))))))))))))))))))))))) :: [])) :: []))))))))))))) }
-
-(** val l_EntryDetail : layout **)
-
-let l_EntryDetail =
-  { l_name = (String ((Ascii (true, false, true, false, false, false, true,
-    false)), (String ((Ascii (false, true, true, true, false, true, true,
-    false)), (String ((Ascii (false, false, true, false, true, true, true,
-    false)), (String ((Ascii (false, true, false, false, true, true, true,
-    false)), (String ((Ascii (true, false, false, true, true, true, true,
-    false)), (String ((Ascii (false, false, true, false, false, false, true,
-    false)), (String ((Ascii (true, false, true, false, false, true, true,
-    false)), (String ((Ascii (false, false, true, false, true, true, true,
-    false)), (String ((Ascii (true, false, false, false, false, true, true,
-    false)), (String ((Ascii (true, false, false, true, false, true, true,
-    false)), (String ((Ascii (false, false, true, true, false, true, true,
-    false)), EmptyString)))))))))))))))))))))); l_ix = IRune; l_segs = ((SLit
-    ((Npos (XO (XI (XI (XO (XI XH)))))) :: [])) :: ((SItoa (String ((Ascii
-    (false, false, true, false, true, false, true, false)), (String ((Ascii
-    (false, true, false, false, true, true, true, false)), (String ((Ascii
-    (true, false, false, false, false, true, true, false)), (String ((Ascii
-    (false, true, true, true, false, true, true, false)), (String ((Ascii
-    (true, true, false, false, true, true, true, false)), (String ((Ascii
-    (true, false, false, false, false, true, true, false)), (String ((Ascii
-    (true, true, false, false, false, true, true, false)), (String ((Ascii
-    (false, false, true, false, true, true, true, false)), (String ((Ascii
-    (true, false, false, true, false, true, true, false)), (String ((Ascii
-    (true, true, true, true, false, true, true, false)), (String ((Ascii
-    (false, true, true, true, false, true, true, false)), (String ((Ascii
-    (true, true, false, false, false, false, true, false)), (String ((Ascii
-    (true, true, true, true, false, true, true, false)), (String ((Ascii
-    (false, false, true, false, false, true, true, false)), (String ((Ascii
-    (true, false, true, false, false, true, true, false)),
-    EmptyString))))))))))))))))))))))))))))))) :: ((SStr ((String ((Ascii
-    (false, true, false, false, true, false, true, false)), (String ((Ascii
-    (false, false, true, false, false, false, true, false)), (String ((Ascii
-    (false, true, true, false, false, false, true, false)), (String ((Ascii
-    (true, false, false, true, false, false, true, false)), (String ((Ascii
-    (true, false, false, true, false, false, true, false)), (String ((Ascii
-    (false, false, true, false, false, true, true, false)), (String ((Ascii
-    (true, false, true, false, false, true, true, false)), (String ((Ascii
-    (false, true, true, true, false, true, true, false)), (String ((Ascii
-    (false, false, true, false, true, true, true, false)), (String ((Ascii
-    (true, false, false, true, false, true, true, false)), (String ((Ascii
-    (false, true, true, false, false, true, true, false)), (String ((Ascii
-    (true, false, false, true, false, true, true, false)), (String ((Ascii
-    (true, true, false, false, false, true, true, false)), (String ((Ascii
-    (true, false, false, false, false, true, true, false)), (String ((Ascii
-    (false, false, true, false, true, true, true, false)), (String ((Ascii
-    (true, false, false, true, false, true, true, false)), (String ((Ascii
-    (true, true, true, true, false, true, true, false)), (String ((Ascii
-    (false, true, true, true, false, true, true, false)),
-    EmptyString)))))))))))))))))))))))))))))))))))), (S (S (S (S (S (S (S (S
-    O)))))))))) :: ((SRaw (String ((Ascii (true, true, false, false, false,
-    false, true, false)), (String ((Ascii (false, false, false, true, false,
-    true, true, false)), (String ((Ascii (true, false, true, false, false,
-    true, true, false)), (String ((Ascii (true, true, false, false, false,
-    true, true, false)), (String ((Ascii (true, true, false, true, false,
-    true, true, false)), (String ((Ascii (false, false, true, false, false,
-    false, true, false)), (String ((Ascii (true, false, false, true, false,
-    true, true, false)), (String ((Ascii (true, true, true, false, false,
-    true, true, false)), (String ((Ascii (true, false, false, true, false,
-    true, true, false)), (String ((Ascii (false, false, true, false, true,
-    true, true, false)), EmptyString))))))))))))))))))))) :: ((SAlpha
-    ((String ((Ascii (false, false, true, false, false, false, true, false)),
-    (String ((Ascii (false, true, true, false, false, false, true, false)),
-    (String ((Ascii (true, false, false, true, false, false, true, false)),
-    (String ((Ascii (true, false, false, false, false, false, true, false)),
-    (String ((Ascii (true, true, false, false, false, true, true, false)),
-    (String ((Ascii (true, true, false, false, false, true, true, false)),
-    (String ((Ascii (true, true, true, true, false, true, true, false)),
-    (String ((Ascii (true, false, true, false, true, true, true, false)),
-    (String ((Ascii (false, true, true, true, false, true, true, false)),
-    (String ((Ascii (false, false, true, false, true, true, true, false)),
-    (String ((Ascii (false, true, true, true, false, false, true, false)),
-    (String ((Ascii (true, false, true, false, true, true, true, false)),
-    (String ((Ascii (true, false, true, true, false, true, true, false)),
-    (String ((Ascii (false, true, false, false, false, true, true, false)),
-    (String ((Ascii (true, false, true, false, false, true, true, false)),
-    (String ((Ascii (false, true, false, false, true, true, true, false)),
-    EmptyString)))))))))))))))))))))))))))))))), (S (S (S (S (S (S (S (S (S
-    (S (S (S (S (S (S (S (S O))))))))))))))))))) :: ((SNum ((String ((Ascii
-    (true, false, false, false, false, false, true, false)), (String ((Ascii
-    (true, false, true, true, false, true, true, false)), (String ((Ascii
-    (true, true, true, true, false, true, true, false)), (String ((Ascii
-    (true, false, true, false, true, true, true, false)), (String ((Ascii
-    (false, true, true, true, false, true, true, false)), (String ((Ascii
-    (false, false, true, false, true, true, true, false)),
-    EmptyString)))))))))))), (S (S (S (S (S (S (S (S (S (S
-    O)))))))))))) :: ((SAlpha ((String ((Ascii (true, false, false, true,
-    false, false, true, false)), (String ((Ascii (false, false, true, false,
-    false, true, true, false)), (String ((Ascii (true, false, true, false,
-    false, true, true, false)), (String ((Ascii (false, true, true, true,
-    false, true, true, false)), (String ((Ascii (false, false, true, false,
-    true, true, true, false)), (String ((Ascii (true, false, false, true,
-    false, true, true, false)), (String ((Ascii (false, true, true, false,
-    false, true, true, false)), (String ((Ascii (true, false, false, true,
-    false, true, true, false)), (String ((Ascii (true, true, false, false,
-    false, true, true, false)), (String ((Ascii (true, false, false, false,
-    false, true, true, false)), (String ((Ascii (false, false, true, false,
-    true, true, true, false)), (String ((Ascii (true, false, false, true,
-    false, true, true, false)), (String ((Ascii (true, true, true, true,
-    false, true, true, false)), (String ((Ascii (false, true, true, true,
-    false, true, true, false)), (String ((Ascii (false, true, true, true,
-    false, false, true, false)), (String ((Ascii (true, false, true, false,
-    true, true, true, false)), (String ((Ascii (true, false, true, true,
-    false, true, true, false)), (String ((Ascii (false, true, false, false,
-    false, true, true, false)), (String ((Ascii (true, false, true, false,
-    false, true, true, false)), (String ((Ascii (false, true, false, false,
-    true, true, true, false)),
-    EmptyString)))))))))))))))))))))))))))))))))))))))), (S (S (S (S (S (S (S
-    (S (S (S (S (S (S (S (S O))))))))))))))))) :: ((SAlpha ((String ((Ascii
-    (true, false, false, true, false, false, true, false)), (String ((Ascii
-    (false, true, true, true, false, true, true, false)), (String ((Ascii
-    (false, false, true, false, false, true, true, false)), (String ((Ascii
-    (true, false, false, true, false, true, true, false)), (String ((Ascii
-    (false, true, true, false, true, true, true, false)), (String ((Ascii
-    (true, false, false, true, false, true, true, false)), (String ((Ascii
-    (false, false, true, false, false, true, true, false)), (String ((Ascii
-    (true, false, true, false, true, true, true, false)), (String ((Ascii
-    (true, false, false, false, false, true, true, false)), (String ((Ascii
-    (false, false, true, true, false, true, true, false)), (String ((Ascii
-    (false, true, true, true, false, false, true, false)), (String ((Ascii
-    (true, false, false, false, false, true, true, false)), (String ((Ascii
-    (true, false, true, true, false, true, true, false)), (String ((Ascii
-    (true, false, true, false, false, true, true, false)),
-    EmptyString)))))))))))))))))))))))))))), (S (S (S (S (S (S (S (S (S (S (S
-    (S (S (S (S (S (S (S (S (S (S (S O)))))))))))))))))))))))) :: ((SAlpha
-    ((String ((Ascii (false, false, true, false, false, false, true, false)),
-    (String ((Ascii (true, false, false, true, false, true, true, false)),
-    (String ((Ascii (true, true, false, false, true, true, true, false)),
-    (String ((Ascii (true, true, false, false, false, true, true, false)),
-    (String ((Ascii (false, true, false, false, true, true, true, false)),
-    (String ((Ascii (true, false, true, false, false, true, true, false)),
-    (String ((Ascii (false, false, true, false, true, true, true, false)),
-    (String ((Ascii (true, false, false, true, false, true, true, false)),
-    (String ((Ascii (true, true, true, true, false, true, true, false)),
-    (String ((Ascii (false, true, true, true, false, true, true, false)),
-    (String ((Ascii (true, false, false, false, false, true, true, false)),
-    (String ((Ascii (false, true, false, false, true, true, true, false)),
-    (String ((Ascii (true, false, false, true, true, true, true, false)),
-    (String ((Ascii (false, false, true, false, false, false, true, false)),
-    (String ((Ascii (true, false, false, false, false, true, true, false)),
-    (String ((Ascii (false, false, true, false, true, true, true, false)),
-    (String ((Ascii (true, false, false, false, false, true, true, false)),
-    EmptyString)))))))))))))))))))))))))))))))))), (S (S O)))) :: ((SItoa
-    (String ((Ascii (true, false, false, false, false, false, true, false)),
-    (String ((Ascii (false, false, true, false, false, true, true, false)),
-    (String ((Ascii (false, false, true, false, false, true, true, false)),
-    (String ((Ascii (true, false, true, false, false, true, true, false)),
-    (String ((Ascii (false, true, true, true, false, true, true, false)),
-    (String ((Ascii (false, false, true, false, false, true, true, false)),
-    (String ((Ascii (true, false, false, false, false, true, true, false)),
-    (String ((Ascii (false, true, false, false, true, false, true, false)),
-    (String ((Ascii (true, false, true, false, false, true, true, false)),
-    (String ((Ascii (true, true, false, false, false, true, true, false)),
-    (String ((Ascii (true, true, true, true, false, true, true, false)),
-    (String ((Ascii (false, true, false, false, true, true, true, false)),
-    (String ((Ascii (false, false, true, false, false, true, true, false)),
-    (String ((Ascii (true, false, false, true, false, false, true, false)),
-    (String ((Ascii (false, true, true, true, false, true, true, false)),
-    (String ((Ascii (false, false, true, false, false, true, true, false)),
-    (String ((Ascii (true, false, false, true, false, true, true, false)),
-    (String ((Ascii (true, true, false, false, false, true, true, false)),
-    (String ((Ascii (true, false, false, false, false, true, true, false)),
-    (String ((Ascii (false, false, true, false, true, true, true, false)),
-    (String ((Ascii (true, true, true, true, false, true, true, false)),
-    (String ((Ascii (false, true, false, false, true, true, true, false)),
-    EmptyString))))))))))))))))))))))))))))))))))))))))))))) :: ((SStr
-    ((String ((Ascii (false, false, true, false, true, false, true, false)),
-    (String ((Ascii (false, true, false, false, true, true, true, false)),
-    (String ((Ascii (true, false, false, false, false, true, true, false)),
-    (String ((Ascii (true, true, false, false, false, true, true, false)),
-    (String ((Ascii (true, false, true, false, false, true, true, false)),
-    (String ((Ascii (false, true, true, true, false, false, true, false)),
-    (String ((Ascii (true, false, true, false, true, true, true, false)),
-    (String ((Ascii (true, false, true, true, false, true, true, false)),
-    (String ((Ascii (false, true, false, false, false, true, true, false)),
-    (String ((Ascii (true, false, true, false, false, true, true, false)),
-    (String ((Ascii (false, true, false, false, true, true, true, false)),
-    EmptyString)))))))))))))))))))))), (S (S (S (S (S (S (S (S (S (S (S (S (S
-    (S (S O))))))))))))))))) :: []))))))))))); l_cuts =
-    ((mkcut O (S O) EmptyString []) :: ((mkcut (S O) (S (S (S O))) (String
-                                          ((Ascii (false, false, true, false,
-                                          true, false, true, false)), (String
-                                          ((Ascii (false, true, false, false,
-                                          true, true, true, false)), (String
-                                          ((Ascii (true, false, false, false,
-                                          false, true, true, false)), (String
-                                          ((Ascii (false, true, true, true,
-                                          false, true, true, false)), (String
-                                          ((Ascii (true, true, false, false,
-                                          true, true, true, false)), (String
-                                          ((Ascii (true, false, false, false,
-                                          false, true, true, false)), (String
-                                          ((Ascii (true, true, false, false,
-                                          false, true, true, false)), (String
-                                          ((Ascii (false, false, true, false,
-                                          true, true, true, false)), (String
-                                          ((Ascii (true, false, false, true,
-                                          false, true, true, false)), (String
-                                          ((Ascii (true, true, true, true,
-                                          false, true, true, false)), (String
-                                          ((Ascii (false, true, true, true,
-                                          false, true, true, false)), (String
-                                          ((Ascii (true, true, false, false,
-                                          false, false, true, false)),
-                                          (String ((Ascii (true, true, true,
-                                          true, false, true, true, false)),
-                                          (String ((Ascii (false, false,
-                                          true, false, false, true, true,
-                                          false)), (String ((Ascii (true,
-                                          false, true, false, false, true,
-                                          true, false)),
-                                          EmptyString))))))))))))))))))))))))))))))
-                                          ((String ((Ascii (false, false,
-                                          false, false, true, true, true,
-                                          false)), (String ((Ascii (true,
-                                          false, false, false, false, true,
-                                          true, false)), (String ((Ascii
-                                          (false, true, false, false, true,
-                                          true, true, false)), (String
-                                          ((Ascii (true, true, false, false,
-                                          true, true, true, false)), (String
-                                          ((Ascii (true, false, true, false,
-                                          false, true, true, false)), (String
-                                          ((Ascii (false, true, true, true,
-                                          false, false, true, false)),
-                                          (String ((Ascii (true, false, true,
-                                          false, true, true, true, false)),
-                                          (String ((Ascii (true, false, true,
-                                          true, false, true, true, false)),
-                                          (String ((Ascii (false, true, true,
-                                          false, false, false, true, false)),
-                                          (String ((Ascii (true, false,
-                                          false, true, false, true, true,
-                                          false)), (String ((Ascii (true,
-                                          false, true, false, false, true,
-                                          true, false)), (String ((Ascii
-                                          (false, false, true, true, false,
-                                          true, true, false)), (String
-                                          ((Ascii (false, false, true, false,
-                                          false, true, true, false)),
-                                          EmptyString)))))))))))))))))))))))))) :: [])) :: (
-    (mkcut (S (S (S O))) (S (S (S (S (S (S (S (S (S (S (S O)))))))))))
-      (String ((Ascii (false, true, false, false, true, false, true, false)),
-      (String ((Ascii (false, false, true, false, false, false, true,
-      false)), (String ((Ascii (false, true, true, false, false, false, true,
-      false)), (String ((Ascii (true, false, false, true, false, false, true,
-      false)), (String ((Ascii (true, false, false, true, false, false, true,
-      false)), (String ((Ascii (false, false, true, false, false, true, true,
-      false)), (String ((Ascii (true, false, true, false, false, true, true,
-      false)), (String ((Ascii (false, true, true, true, false, true, true,
-      false)), (String ((Ascii (false, false, true, false, true, true, true,
-      false)), (String ((Ascii (true, false, false, true, false, true, true,
-      false)), (String ((Ascii (false, true, true, false, false, true, true,
-      false)), (String ((Ascii (true, false, false, true, false, true, true,
-      false)), (String ((Ascii (true, true, false, false, false, true, true,
-      false)), (String ((Ascii (true, false, false, false, false, true, true,
-      false)), (String ((Ascii (false, false, true, false, true, true, true,
-      false)), (String ((Ascii (true, false, false, true, false, true, true,
-      false)), (String ((Ascii (true, true, true, true, false, true, true,
-      false)), (String ((Ascii (false, true, true, true, false, true, true,
-      false)), EmptyString)))))))))))))))))))))))))))))))))))) []) :: (
-    (mkcut (S (S (S (S (S (S (S (S (S (S (S O))))))))))) (S (S (S (S (S (S (S
-      (S (S (S (S (S O)))))))))))) (String ((Ascii (true, true, false, false,
-      false, false, true, false)), (String ((Ascii (false, false, false,
-      true, false, true, true, false)), (String ((Ascii (true, false, true,
-      false, false, true, true, false)), (String ((Ascii (true, true, false,
-      false, false, true, true, false)), (String ((Ascii (true, true, false,
-      true, false, true, true, false)), (String ((Ascii (false, false, true,
-      false, false, false, true, false)), (String ((Ascii (true, false,
-      false, true, false, true, true, false)), (String ((Ascii (true, true,
-      true, false, false, true, true, false)), (String ((Ascii (true, false,
-      false, true, false, true, true, false)), (String ((Ascii (false, false,
-      true, false, true, true, true, false)), EmptyString))))))))))))))))))))
-      []) :: ((mkcut (S (S (S (S (S (S (S (S (S (S (S (S O)))))))))))) (S (S
-                (S (S (S (S (S (S (S (S (S (S (S (S (S (S (S (S (S (S (S (S
-                (S (S (S (S (S (S (S O))))))))))))))))))))))))))))) (String
-                ((Ascii (false, false, true, false, false, false, true,
-                false)), (String ((Ascii (false, true, true, false, false,
-                false, true, false)), (String ((Ascii (true, false, false,
-                true, false, false, true, false)), (String ((Ascii (true,
-                false, false, false, false, false, true, false)), (String
-                ((Ascii (true, true, false, false, false, true, true,
-                false)), (String ((Ascii (true, true, false, false, false,
-                true, true, false)), (String ((Ascii (true, true, true, true,
-                false, true, true, false)), (String ((Ascii (true, false,
-                true, false, true, true, true, false)), (String ((Ascii
-                (false, true, true, true, false, true, true, false)), (String
-                ((Ascii (false, false, true, false, true, true, true,
-                false)), (String ((Ascii (false, true, true, true, false,
-                false, true, false)), (String ((Ascii (true, false, true,
-                false, true, true, true, false)), (String ((Ascii (true,
-                false, true, true, false, true, true, false)), (String
-                ((Ascii (false, true, false, false, false, true, true,
-                false)), (String ((Ascii (true, false, true, false, false,
-                true, true, false)), (String ((Ascii (false, true, false,
-                false, true, true, true, false)),
-                EmptyString)))))))))))))))))))))))))))))))) ((String ((Ascii
-                (false, false, false, false, true, true, true, false)),
-                (String ((Ascii (true, false, false, false, false, true,
-                true, false)), (String ((Ascii (false, true, false, false,
-                true, true, true, false)), (String ((Ascii (true, true,
-                false, false, true, true, true, false)), (String ((Ascii
-                (true, false, true, false, false, true, true, false)),
-                (String ((Ascii (true, true, false, false, true, false, true,
-                false)), (String ((Ascii (false, false, true, false, true,
-                true, true, false)), (String ((Ascii (false, true, false,
-                false, true, true, true, false)), (String ((Ascii (true,
-                false, false, true, false, true, true, false)), (String
-                ((Ascii (false, true, true, true, false, true, true, false)),
-                (String ((Ascii (true, true, true, false, false, true, true,
-                false)), (String ((Ascii (false, true, true, false, false,
-                false, true, false)), (String ((Ascii (true, false, false,
-                true, false, true, true, false)), (String ((Ascii (true,
-                false, true, false, false, true, true, false)), (String
-                ((Ascii (false, false, true, true, false, true, true,
-                false)), (String ((Ascii (false, false, true, false, false,
-                true, true, false)), (String ((Ascii (true, true, true,
-                false, true, false, true, false)), (String ((Ascii (true,
-                false, false, true, false, true, true, false)), (String
-                ((Ascii (false, false, true, false, true, true, true,
-                false)), (String ((Ascii (false, false, false, true, false,
-                true, true, false)), (String ((Ascii (true, true, true, true,
-                false, false, true, false)), (String ((Ascii (false, false,
-                false, false, true, true, true, false)), (String ((Ascii
-                (false, false, true, false, true, true, true, false)),
-                (String ((Ascii (true, true, false, false, true, true, true,
-                false)),
-                EmptyString)))))))))))))))))))))))))))))))))))))))))))))))) :: [])) :: (
-    (mkcut (S (S (S (S (S (S (S (S (S (S (S (S (S (S (S (S (S (S (S (S (S (S
-      (S (S (S (S (S (S (S O))))))))))))))))))))))))))))) (S (S (S (S (S (S
-      (S (S (S (S (S (S (S (S (S (S (S (S (S (S (S (S (S (S (S (S (S (S (S (S
-      (S (S (S (S (S (S (S (S (S O)))))))))))))))))))))))))))))))))))))))
-      (String ((Ascii (true, false, false, false, false, false, true,
-      false)), (String ((Ascii (true, false, true, true, false, true, true,
-      false)), (String ((Ascii (true, true, true, true, false, true, true,
-      false)), (String ((Ascii (true, false, true, false, true, true, true,
-      false)), (String ((Ascii (false, true, true, true, false, true, true,
-      false)), (String ((Ascii (false, false, true, false, true, true, true,
-      false)), EmptyString)))))))))))) ((String ((Ascii (false, false, false,
-      false, true, true, true, false)), (String ((Ascii (true, false, false,
-      false, false, true, true, false)), (String ((Ascii (false, true, false,
-      false, true, true, true, false)), (String ((Ascii (true, true, false,
-      false, true, true, true, false)), (String ((Ascii (true, false, true,
-      false, false, true, true, false)), (String ((Ascii (false, true, true,
-      true, false, false, true, false)), (String ((Ascii (true, false, true,
-      false, true, true, true, false)), (String ((Ascii (true, false, true,
-      true, false, true, true, false)), (String ((Ascii (false, true, true,
-      false, false, false, true, false)), (String ((Ascii (true, false,
-      false, true, false, true, true, false)), (String ((Ascii (true, false,
-      true, false, false, true, true, false)), (String ((Ascii (false, false,
-      true, true, false, true, true, false)), (String ((Ascii (false, false,
-      true, false, false, true, true, false)),
-      EmptyString)))))))))))))))))))))))))) :: [])) :: ((mkcut (S (S (S (S (S
-                                                          (S (S (S (S (S (S
-                                                          (S (S (S (S (S (S
-                                                          (S (S (S (S (S (S
-                                                          (S (S (S (S (S (S
-                                                          (S (S (S (S (S (S
-                                                          (S (S (S (S
-                                                          O)))))))))))))))))))))))))))))))))))))))
-                                                          (S (S (S (S (S (S
-                                                          (S (S (S (S (S (S
-                                                          (S (S (S (S (S (S
-                                                          (S (S (S (S (S (S
-                                                          (S (S (S (S (S (S
-                                                          (S (S (S (S (S (S
-                                                          (S (S (S (S (S (S
-                                                          (S (S (S (S (S (S
-                                                          (S (S (S (S (S (S
-                                                          O))))))))))))))))))))))))))))))))))))))))))))))))))))))
-                                                          (String ((Ascii
-                                                          (true, false,
-                                                          false, true, false,
-                                                          false, true,
-                                                          false)), (String
-                                                          ((Ascii (false,
-                                                          false, true, false,
-                                                          false, true, true,
-                                                          false)), (String
-                                                          ((Ascii (true,
-                                                          false, true, false,
-                                                          false, true, true,
-                                                          false)), (String
-                                                          ((Ascii (false,
-                                                          true, true, true,
-                                                          false, true, true,
-                                                          false)), (String
-                                                          ((Ascii (false,
-                                                          false, true, false,
-                                                          true, true, true,
-                                                          false)), (String
-                                                          ((Ascii (true,
-                                                          false, false, true,
-                                                          false, true, true,
-                                                          false)), (String
-                                                          ((Ascii (false,
-                                                          true, true, false,
-                                                          false, true, true,
-                                                          false)), (String
-                                                          ((Ascii (true,
-                                                          false, false, true,
-                                                          false, true, true,
-                                                          false)), (String
-                                                          ((Ascii (true,
-                                                          true, false, false,
-                                                          false, true, true,
-                                                          false)), (String
-                                                          ((Ascii (true,
-                                                          false, false,
-                                                          false, false, true,
-                                                          true, false)),
-                                                          (String ((Ascii
-                                                          (false, false,
-                                                          true, false, true,
-                                                          true, true,
-                                                          false)), (String
-                                                          ((Ascii (true,
-                                                          false, false, true,
-                                                          false, true, true,
-                                                          false)), (String
-                                                          ((Ascii (true,
-                                                          true, true, true,
-                                                          false, true, true,
-                                                          false)), (String
-                                                          ((Ascii (false,
-                                                          true, true, true,
-                                                          false, true, true,
-                                                          false)), (String
-                                                          ((Ascii (false,
-                                                          true, true, true,
-                                                          false, false, true,
-                                                          false)), (String
-                                                          ((Ascii (true,
-                                                          false, true, false,
-                                                          true, true, true,
-                                                          false)), (String
-                                                          ((Ascii (true,
-                                                          false, true, true,
-                                                          false, true, true,
-                                                          false)), (String
-                                                          ((Ascii (false,
-                                                          true, false, false,
-                                                          false, true, true,
-                                                          false)), (String
-                                                          ((Ascii (true,
-                                                          false, true, false,
-                                                          false, true, true,
-                                                          false)), (String
-                                                          ((Ascii (false,
-                                                          true, false, false,
-                                                          true, true, true,
-                                                          false)),
-                                                          EmptyString))))))))))))))))))))))))))))))))))))))))
-                                                          []) :: ((mkcut (S
-                                                                    (S (S (S
-                                                                    (S (S (S
-                                                                    (S (S (S
-                                                                    (S (S (S
-                                                                    (S (S (S
-                                                                    (S (S (S
-                                                                    (S (S (S
-                                                                    (S (S (S
-                                                                    (S (S (S
-                                                                    (S (S (S
-                                                                    (S (S (S
-                                                                    (S (S (S
-                                                                    (S (S (S
-                                                                    (S (S (S
-                                                                    (S (S (S
-                                                                    (S (S (S
-                                                                    (S (S (S
-                                                                    (S (S
-                                                                    O))))))))))))))))))))))))))))))))))))))))))))))))))))))
-                                                                    (S (S (S
-                                                                    (S (S (S
-                                                                    (S (S (S
-                                                                    (S (S (S
-                                                                    (S (S (S
-                                                                    (S (S (S
-                                                                    (S (S (S
-                                                                    (S (S (S
-                                                                    (S (S (S
-                                                                    (S (S (S
-                                                                    (S (S (S
-                                                                    (S (S (S
-                                                                    (S (S (S
-                                                                    (S (S (S
-                                                                    (S (S (S
-                                                                    (S (S (S
-                                                                    (S (S (S
-                                                                    (S (S (S
-                                                                    (S (S (S
-                                                                    (S (S (S
-                                                                    (S (S (S
-                                                                    (S (S (S
-                                                                    (S (S (S
-                                                                    (S (S (S
-                                                                    (S (S (S
-                                                                    (S
-                                                                    O))))))))))))))))))))))))))))))))))))))))))))))))))))))))))))))))))))))))))))
-                                                                    (String
-                                                                    ((Ascii
-                                                                    (true,
-                                                                    false,
-                                                                    false,
-                                                                    true,
-                                                                    false,
-                                                                    false,
-                                                                    true,
-                                                                    false)),
-                                                                    (String
-                                                                    ((Ascii
-                                                                    (false,
-                                                                    true,
-                                                                    true,
-                                                                    true,
-                                                                    false,
-                                                                    true,
-                                                                    true,
-                                                                    false)),
-                                                                    (String
-                                                                    ((Ascii
-                                                                    (false,
-                                                                    false,
-                                                                    true,
-                                                                    false,
-                                                                    false,
-                                                                    true,
-                                                                    true,
-                                                                    false)),
-                                                                    (String
-                                                                    ((Ascii
-                                                                    (true,
-                                                                    false,
-                                                                    false,
-                                                                    true,
-                                                                    false,
-                                                                    true,
-                                                                    true,
-                                                                    false)),
-                                                                    (String
-                                                                    ((Ascii
-                                                                    (false,
-                                                                    true,
-                                                                    true,
-                                                                    false,
-                                                                    true,
-                                                                    true,
-                                                                    true,
-                                                                    false)),
-                                                                    (String
-                                                                    ((Ascii
-                                                                    (true,
-                                                                    false,
-                                                                    false,
-                                                                    true,
-                                                                    false,
-                                                                    true,
-                                                                    true,
-                                                                    false)),
-                                                                    (String
-                                                                    ((Ascii
-                                                                    (false,
-                                                                    false,
-                                                                    true,
-                                                                    false,
-                                                                    false,
-                                                                    true,
-                                                                    true,
-                                                                    false)),
-                                                                    (String
-                                                                    ((Ascii
-                                                                    (true,
-                                                                    false,
-                                                                    true,
-                                                                    false,
-                                                                    true,
-                                                                    true,
-                                                                    true,
-                                                                    false)),
-                                                                    (String
-                                                                    ((Ascii
-                                                                    (true,
-                                                                    false,
-                                                                    false,
-                                                                    false,
-                                                                    false,
-                                                                    true,
-                                                                    true,
-                                                                    false)),
-                                                                    (String
-                                                                    ((Ascii
-                                                                    (false,
-                                                                    false,
-                                                                    true,
-                                                                    true,
-                                                                    false,
-                                                                    true,
-                                                                    true,
-                                                                    false)),
-                                                                    (String
-                                                                    ((Ascii
-                                                                    (false,
-                                                                    true,
-                                                                    true,
-                                                                    true,
-                                                                    false,
-                                                                    false,
-                                                                    true,
-                                                                    false)),
-                                                                    (String
-                                                                    ((Ascii
-                                                                    (true,
-                                                                    false,
-                                                                    false,
-                                                                    false,
-                                                                    false,
-                                                                    true,
-                                                                    true,
-                                                                    false)),
-                                                                    (String
-                                                                    ((Ascii
-                                                                    (true,
-                                                                    false,
-                                                                    true,
-                                                                    true,
-                                                                    false,
-                                                                    true,
-                                                                    true,
-                                                                    false)),
-                                                                    (String
-                                                                    ((Ascii
-                                                                    (true,
-                                                                    false,
-                                                                    true,
-                                                                    false,
-                                                                    false,
-                                                                    true,
-                                                                    true,
-                                                                    false)),
-                                                                    EmptyString))))))))))))))))))))))))))))
-                                                                    []) :: (
-    (mkcut (S (S (S (S (S (S (S (S (S (S (S (S (S (S (S (S (S (S (S (S (S (S
-      (S (S (S (S (S (S (S (S (S (S (S (S (S (S (S (S (S (S (S (S (S (S (S (S
-      (S (S (S (S (S (S (S (S (S (S (S (S (S (S (S (S (S (S (S (S (S (S (S (S
-      (S (S (S (S (S (S
-      O))))))))))))))))))))))))))))))))))))))))))))))))))))))))))))))))))))))))))))
-      (S (S (S (S (S (S (S (S (S (S (S (S (S (S (S (S (S (S (S (S (S (S (S (S
-      (S (S (S (S (S (S (S (S (S (S (S (S (S (S (S (S (S (S (S (S (S (S (S (S
-      (S (S (S (S (S (S (S (S (S (S (S (S (S (S (S (S (S (S (S (S (S (S (S (S
-      (S (S (S (S (S (S
-      O))))))))))))))))))))))))))))))))))))))))))))))))))))))))))))))))))))))))))))))
-      (String ((Ascii (false, false, true, false, false, false, true,
-      false)), (String ((Ascii (true, false, false, true, false, true, true,
-      false)), (String ((Ascii (true, true, false, false, true, true, true,
-      false)), (String ((Ascii (true, true, false, false, false, true, true,
-      false)), (String ((Ascii (false, true, false, false, true, true, true,
-      false)), (String ((Ascii (true, false, true, false, false, true, true,
-      false)), (String ((Ascii (false, false, true, false, true, true, true,
-      false)), (String ((Ascii (true, false, false, true, false, true, true,
-      false)), (String ((Ascii (true, true, true, true, false, true, true,
-      false)), (String ((Ascii (false, true, true, true, false, true, true,
-      false)), (String ((Ascii (true, false, false, false, false, true, true,
-      false)), (String ((Ascii (false, true, false, false, true, true, true,
-      false)), (String ((Ascii (true, false, false, true, true, true, true,
-      false)), (String ((Ascii (false, false, true, false, false, false,
-      true, false)), (String ((Ascii (true, false, false, false, false, true,
-      true, false)), (String ((Ascii (false, false, true, false, true, true,
-      true, false)), (String ((Ascii (true, false, false, false, false, true,
-      true, false)), EmptyString)))))))))))))))))))))))))))))))))) []) :: (
-    (mkcut (S (S (S (S (S (S (S (S (S (S (S (S (S (S (S (S (S (S (S (S (S (S
-      (S (S (S (S (S (S (S (S (S (S (S (S (S (S (S (S (S (S (S (S (S (S (S (S
-      (S (S (S (S (S (S (S (S (S (S (S (S (S (S (S (S (S (S (S (S (S (S (S (S
-      (S (S (S (S (S (S (S (S
-      O))))))))))))))))))))))))))))))))))))))))))))))))))))))))))))))))))))))))))))))
-      (S (S (S (S (S (S (S (S (S (S (S (S (S (S (S (S (S (S (S (S (S (S (S (S
-      (S (S (S (S (S (S (S (S (S (S (S (S (S (S (S (S (S (S (S (S (S (S (S (S
-      (S (S (S (S (S (S (S (S (S (S (S (S (S (S (S (S (S (S (S (S (S (S (S (S
-      (S (S (S (S (S (S (S
-      O)))))))))))))))))))))))))))))))))))))))))))))))))))))))))))))))))))))))))))))))
-      (String ((Ascii (true, false, false, false, false, false, true,
-      false)), (String ((Ascii (false, false, true, false, false, true, true,
-      false)), (String ((Ascii (false, false, true, false, false, true, true,
-      false)), (String ((Ascii (true, false, true, false, false, true, true,
-      false)), (String ((Ascii (false, true, true, true, false, true, true,
-      false)), (String ((Ascii (false, false, true, false, false, true, true,
-      false)), (String ((Ascii (true, false, false, false, false, true, true,
-      false)), (String ((Ascii (false, true, false, false, true, false, true,
-      false)), (String ((Ascii (true, false, true, false, false, true, true,
-      false)), (String ((Ascii (true, true, false, false, false, true, true,
-      false)), (String ((Ascii (true, true, true, true, false, true, true,
-      false)), (String ((Ascii (false, true, false, false, true, true, true,
-      false)), (String ((Ascii (false, false, true, false, false, true, true,
-      false)), (String ((Ascii (true, false, false, true, false, false, true,
-      false)), (String ((Ascii (false, true, true, true, false, true, true,
-      false)), (String ((Ascii (false, false, true, false, false, true, true,
-      false)), (String ((Ascii (true, false, false, true, false, true, true,
-      false)), (String ((Ascii (true, true, false, false, false, true, true,
-      false)), (String ((Ascii (true, false, false, false, false, true, true,
-      false)), (String ((Ascii (false, false, true, false, true, true, true,
-      false)), (String ((Ascii (true, true, true, true, false, true, true,
-      false)), (String ((Ascii (false, true, false, false, true, true, true,
-      false)), EmptyString))))))))))))))))))))))))))))))))))))))))))))
-      ((String ((Ascii (false, false, false, false, true, true, true,
-      false)), (String ((Ascii (true, false, false, false, false, true, true,
-      false)), (String ((Ascii (false, true, false, false, true, true, true,
-      false)), (String ((Ascii (true, true, false, false, true, true, true,
-      false)), (String ((Ascii (true, false, true, false, false, true, true,
-      false)), (String ((Ascii (false, true, true, true, false, false, true,
-      false)), (String ((Ascii (true, false, true, false, true, true, true,
-      false)), (String ((Ascii (true, false, true, true, false, true, true,
-      false)), (String ((Ascii (false, true, true, false, false, false, true,
-      false)), (String ((Ascii (true, false, false, true, false, true, true,
-      false)), (String ((Ascii (true, false, true, false, false, true, true,
-      false)), (String ((Ascii (false, false, true, true, false, true, true,
-      false)), (String ((Ascii (false, false, true, false, false, true, true,
-      false)), EmptyString)))))))))))))))))))))))))) :: [])) :: ((mkcut (S (S
-                                                                   (S (S (S
-                                                                   (S (S (S
-                                                                   (S (S (S
-                                                                   (S (S (S
-                                                                   (S (S (S
-                                                                   (S (S (S
-                                                                   (S (S (S
-                                                                   (S (S (S
-                                                                   (S (S (S
-                                                                   (S (S (S
-                                                                   (S (S (S
-                                                                   (S (S (S
-                                                                   (S (S (S
-                                                                   (S (S (S
-                                                                   (S (S (S
-                                                                   (S (S (S
-                                                                   (S (S (S
-                                                                   (S (S (S
-                                                                   (S (S (S
-                                                                   (S (S (S
-                                                                   (S (S (S
-                                                                   (S (S (S
-                                                                   (S (S (S
-                                                                   (S (S (S
-                                                                   (S (S (S
-                                                                   (S (S
-                                                                   O)))))))))))))))))))))))))))))))))))))))))))))))))))))))))))))))))))))))))))))))
-                                                                   (S (S (S
-                                                                   (S (S (S
-                                                                   (S (S (S
-                                                                   (S (S (S
-                                                                   (S (S (S
-                                                                   (S (S (S
-                                                                   (S (S (S
-                                                                   (S (S (S
-                                                                   (S (S (S
-                                                                   (S (S (S
-                                                                   (S (S (S
-                                                                   (S (S (S
-                                                                   (S (S (S
-                                                                   (S (S (S
-                                                                   (S (S (S
-                                                                   (S (S (S
-                                                                   (S (S (S
-                                                                   (S (S (S
-                                                                   (S (S (S
-                                                                   (S (S (S
-                                                                   (S (S (S
-                                                                   (S (S (S
-                                                                   (S (S (S
-                                                                   (S (S (S
-                                                                   (S (S (S
-                                                                   (S (S (S
-                                                                   (S (S (S
-                                                                   (S (S (S
-                                                                   (S (S (S
-                                                                   (S (S (S
-                                                                   (S (S (S
-                                                                   (S
-                                                                   O))))))))))))))))))))))))))))))))))))))))))))))))))))))))))))))))))))))))))))))))))))))))))))))
-                                                                   (String
-                                                                   ((Ascii
-                                                                   (false,
-                                                                   false,
-                                                                   true,
-                                                                   false,
-                                                                   true,
-                                                                   false,
-                                                                   true,
-                                                                   false)),
-                                                                   (String
-                                                                   ((Ascii
-                                                                   (false,
-                                                                   true,
-                                                                   false,
-                                                                   false,
-                                                                   true,
-                                                                   true,
-                                                                   true,
-                                                                   false)),
-                                                                   (String
-                                                                   ((Ascii
-                                                                   (true,
-                                                                   false,
-                                                                   false,
-                                                                   false,
-                                                                   false,
-                                                                   true,
-                                                                   true,
-                                                                   false)),
-                                                                   (String
-                                                                   ((Ascii
-                                                                   (true,
-                                                                   true,
-                                                                   false,
-                                                                   false,
-                                                                   false,
-                                                                   true,
-                                                                   true,
-                                                                   false)),
-                                                                   (String
-                                                                   ((Ascii
-                                                                   (true,
-                                                                   false,
-                                                                   true,
-                                                                   false,
-                                                                   false,
-                                                                   true,
-                                                                   true,
-                                                                   false)),
-                                                                   (String
-                                                                   ((Ascii
-                                                                   (false,
-                                                                   true,
-                                                                   true,
-                                                                   true,
-                                                                   false,
-                                                                   false,
-                                                                   true,
-                                                                   false)),
-                                                                   (String
-                                                                   ((Ascii
-                                                                   (true,
-                                                                   false,
-                                                                   true,
-                                                                   false,
-                                                                   true,
-                                                                   true,
-                                                                   true,
-                                                                   false)),
-                                                                   (String
-                                                                   ((Ascii
-                                                                   (true,
-                                                                   false,
-                                                                   true,
-                                                                   true,
-                                                                   false,
-                                                                   true,
-                                                                   true,
-                                                                   false)),
-                                                                   (String
-                                                                   ((Ascii
-                                                                   (false,
-                                                                   true,
-                                                                   false,
-                                                                   false,
-                                                                   false,
-                                                                   true,
-                                                                   true,
-                                                                   false)),
-                                                                   (String
-                                                                   ((Ascii
-                                                                   (true,
-                                                                   false,
-                                                                   true,
-                                                                   false,
-                                                                   false,
-                                                                   true,
-                                                                   true,
-                                                                   false)),
-                                                                   (String
-                                                                   ((Ascii
-                                                                   (false,
-                                                                   true,
-                                                                   false,
-                                                                   false,
-                                                                   true,
-                                                                   true,
-                                                                   true,
-                                                                   false)),
-                                                                   EmptyString))))))))))))))))))))))
-                                                                   []) :: []))))))))))) }
-
-(** val l_FileControl : layout **)
-
-let l_FileControl =
-  { l_name = (String ((Ascii (false, true, true, false, false, false, true,
-    false)), (String ((Ascii (true, false, false, true, false, true, true,
-    false)), (String ((Ascii (false, false, true, true, false, true, true,
-    false)), (String ((Ascii (true, false, true, false, false, true, true,
-    false)), (String ((Ascii (true, true, false, false, false, false, true,
-    false)), (String ((Ascii (true, true, true, true, false, true, true,
-    false)), (String ((Ascii (false, true, true, true, false, true, true,
-    false)), (String ((Ascii (false, false, true, false, true, true, true,
-    false)), (String ((Ascii (false, true, false, false, true, true, true,
-    false)), (String ((Ascii (true, true, true, true, false, true, true,
-    false)), (String ((Ascii (false, false, true, true, false, true, true,
-    false)), EmptyString)))))))))))))))))))))); l_ix = IRune; l_segs = ((SLit
-    ((Npos (XI (XO (XO (XI (XI XH)))))) :: [])) :: ((SNum ((String ((Ascii
-    (false, true, false, false, false, false, true, false)), (String ((Ascii
-    (true, false, false, false, false, true, true, false)), (String ((Ascii
-    (false, false, true, false, true, true, true, false)), (String ((Ascii
-    (true, true, false, false, false, true, true, false)), (String ((Ascii
-    (false, false, false, true, false, true, true, false)), (String ((Ascii
-    (true, true, false, false, false, false, true, false)), (String ((Ascii
-    (true, true, true, true, false, true, true, false)), (String ((Ascii
-    (true, false, true, false, true, true, true, false)), (String ((Ascii
-    (false, true, true, true, false, true, true, false)), (String ((Ascii
-    (false, false, true, false, true, true, true, false)),
-    EmptyString)))))))))))))))))))), (S (S (S (S (S (S O)))))))) :: ((SNum
-    ((String ((Ascii (false, true, false, false, false, false, true, false)),
-    (String ((Ascii (false, false, true, true, false, true, true, false)),
-    (String ((Ascii (true, true, true, true, false, true, true, false)),
-    (String ((Ascii (true, true, false, false, false, true, true, false)),
-    (String ((Ascii (true, true, false, true, false, true, true, false)),
-    (String ((Ascii (true, true, false, false, false, false, true, false)),
-    (String ((Ascii (true, true, true, true, false, true, true, false)),
-    (String ((Ascii (true, false, true, false, true, true, true, false)),
-    (String ((Ascii (false, true, true, true, false, true, true, false)),
-    (String ((Ascii (false, false, true, false, true, true, true, false)),
-    EmptyString)))))))))))))))))))), (S (S (S (S (S (S O)))))))) :: ((SNum
-    ((String ((Ascii (true, false, true, false, false, false, true, false)),
-    (String ((Ascii (false, true, true, true, false, true, true, false)),
-    (String ((Ascii (false, false, true, false, true, true, true, false)),
-    (String ((Ascii (false, true, false, false, true, true, true, false)),
-    (String ((Ascii (true, false, false, true, true, true, true, false)),
-    (String ((Ascii (true, false, false, false, false, false, true, false)),
-    (String ((Ascii (false, false, true, false, false, true, true, false)),
-    (String ((Ascii (false, false, true, false, false, true, true, false)),
-    (String ((Ascii (true, false, true, false, false, true, true, false)),
-    (String ((Ascii (false, true, true, true, false, true, true, false)),
-    (String ((Ascii (false, false, true, false, false, true, true, false)),
-    (String ((Ascii (true, false, false, false, false, true, true, false)),
-    (String ((Ascii (true, true, false, false, false, false, true, false)),
-    (String ((Ascii (true, true, true, true, false, true, true, false)),
-    (String ((Ascii (true, false, true, false, true, true, true, false)),
-    (String ((Ascii (false, true, true, true, false, true, true, false)),
-    (String ((Ascii (false, false, true, false, true, true, true, false)),
-    EmptyString)))))))))))))))))))))))))))))))))), (S (S (S (S (S (S (S (S
-    O)))))))))) :: ((SNum ((String ((Ascii (true, false, true, false, false,
-    false, true, false)), (String ((Ascii (false, true, true, true, false,
-    true, true, false)), (String ((Ascii (false, false, true, false, true,
-    true, true, false)), (String ((Ascii (false, true, false, false, true,
-    true, true, false)), (String ((Ascii (true, false, false, true, true,
-    true, true, false)), (String ((Ascii (false, false, false, true, false,
-    false, true, false)), (String ((Ascii (true, false, false, false, false,
-    true, true, false)), (String ((Ascii (true, true, false, false, true,
-    true, true, false)), (String ((Ascii (false, false, false, true, false,
-    true, true, false)), EmptyString)))))))))))))))))), (S (S (S (S (S (S (S
-    (S (S (S O)))))))))))) :: ((SNum ((String ((Ascii (false, false, true,
-    false, true, false, true, false)), (String ((Ascii (true, true, true,
-    true, false, true, true, false)), (String ((Ascii (false, false, true,
-    false, true, true, true, false)), (String ((Ascii (true, false, false,
-    false, false, true, true, false)), (String ((Ascii (false, false, true,
-    true, false, true, true, false)), (String ((Ascii (false, false, true,
-    false, false, false, true, false)), (String ((Ascii (true, false, true,
-    false, false, true, true, false)), (String ((Ascii (false, true, false,
-    false, false, true, true, false)), (String ((Ascii (true, false, false,
-    true, false, true, true, false)), (String ((Ascii (false, false, true,
-    false, true, true, true, false)), (String ((Ascii (true, false, true,
-    false, false, false, true, false)), (String ((Ascii (false, true, true,
-    true, false, true, true, false)), (String ((Ascii (false, false, true,
-    false, true, true, true, false)), (String ((Ascii (false, true, false,
-    false, true, true, true, false)), (String ((Ascii (true, false, false,
-    true, true, true, true, false)), (String ((Ascii (false, false, true,
-    false, false, false, true, false)), (String ((Ascii (true, true, true,
-    true, false, true, true, false)), (String ((Ascii (false, false, true,
-    true, false, true, true, false)), (String ((Ascii (false, false, true,
-    true, false, true, true, false)), (String ((Ascii (true, false, false,
-    false, false, true, true, false)), (String ((Ascii (false, true, false,
-    false, true, true, true, false)), (String ((Ascii (true, false, false,
-    false, false, false, true, false)), (String ((Ascii (true, false, true,
-    true, false, true, true, false)), (String ((Ascii (true, true, true,
-    true, false, true, true, false)), (String ((Ascii (true, false, true,
-    false, true, true, true, false)), (String ((Ascii (false, true, true,
-    true, false, true, true, false)), (String ((Ascii (false, false, true,
-    false, true, true, true, false)), (String ((Ascii (true, false, false,
-    true, false, false, true, false)), (String ((Ascii (false, true, true,
-    true, false, true, true, false)), (String ((Ascii (false, true, true,
-    false, false, false, true, false)), (String ((Ascii (true, false, false,
-    true, false, true, true, false)), (String ((Ascii (false, false, true,
-    true, false, true, true, false)), (String ((Ascii (true, false, true,
-    false, false, true, true, false)),
-    EmptyString)))))))))))))))))))))))))))))))))))))))))))))))))))))))))))))))))),
-    (S (S (S (S (S (S (S (S (S (S (S (S O)))))))))))))) :: ((SNum ((String
-    ((Ascii (false, false, true, false, true, false, true, false)), (String
-    ((Ascii (true, true, true, true, false, true, true, false)), (String
-    ((Ascii (false, false, true, false, true, true, true, false)), (String
-    ((Ascii (true, false, false, false, false, true, true, false)), (String
-    ((Ascii (false, false, true, true, false, true, true, false)), (String
-    ((Ascii (true, true, false, false, false, false, true, false)), (String
-    ((Ascii (false, true, false, false, true, true, true, false)), (String
-    ((Ascii (true, false, true, false, false, true, true, false)), (String
-    ((Ascii (false, false, true, false, false, true, true, false)), (String
-    ((Ascii (true, false, false, true, false, true, true, false)), (String
-    ((Ascii (false, false, true, false, true, true, true, false)), (String
-    ((Ascii (true, false, true, false, false, false, true, false)), (String
-    ((Ascii (false, true, true, true, false, true, true, false)), (String
-    ((Ascii (false, false, true, false, true, true, true, false)), (String
-    ((Ascii (false, true, false, false, true, true, true, false)), (String
-    ((Ascii (true, false, false, true, true, true, true, false)), (String
-    ((Ascii (false, false, true, false, false, false, true, false)), (String
-    ((Ascii (true, true, true, true, false, true, true, false)), (String
-    ((Ascii (false, false, true, true, false, true, true, false)), (String
-    ((Ascii (false, false, true, true, false, true, true, false)), (String
-    ((Ascii (true, false, false, false, false, true, true, false)), (String
-    ((Ascii (false, true, false, false, true, true, true, false)), (String
-    ((Ascii (true, false, false, false, false, false, true, false)), (String
-    ((Ascii (true, false, true, true, false, true, true, false)), (String
-    ((Ascii (true, true, true, true, false, true, true, false)), (String
-    ((Ascii (true, false, true, false, true, true, true, false)), (String
-    ((Ascii (false, true, true, true, false, true, true, false)), (String
-    ((Ascii (false, false, true, false, true, true, true, false)), (String
-    ((Ascii (true, false, false, true, false, false, true, false)), (String
-    ((Ascii (false, true, true, true, false, true, true, false)), (String
-    ((Ascii (false, true, true, false, false, false, true, false)), (String
-    ((Ascii (true, false, false, true, false, true, true, false)), (String
-    ((Ascii (false, false, true, true, false, true, true, false)), (String
-    ((Ascii (true, false, true, false, false, true, true, false)),
-    EmptyString)))))))))))))))))))))))))))))))))))))))))))))))))))))))))))))))))))),
-    (S (S (S (S (S (S (S (S (S (S (S (S O)))))))))))))) :: ((SLit ((Npos (XO
-    (XO (XO (XO (XO XH)))))) :: ((Npos (XO (XO (XO (XO (XO XH)))))) :: ((Npos
-    (XO (XO (XO (XO (XO XH)))))) :: ((Npos (XO (XO (XO (XO (XO
-    XH)))))) :: ((Npos (XO (XO (XO (XO (XO XH)))))) :: ((Npos (XO (XO (XO (XO
-    (XO XH)))))) :: ((Npos (XO (XO (XO (XO (XO XH)))))) :: ((Npos (XO (XO (XO
-    (XO (XO XH)))))) :: ((Npos (XO (XO (XO (XO (XO XH)))))) :: ((Npos (XO (XO
-    (XO (XO (XO XH)))))) :: ((Npos (XO (XO (XO (XO (XO XH)))))) :: ((Npos (XO
-    (XO (XO (XO (XO XH)))))) :: ((Npos (XO (XO (XO (XO (XO XH)))))) :: ((Npos
-    (XO (XO (XO (XO (XO XH)))))) :: ((Npos (XO (XO (XO (XO (XO
-    XH)))))) :: ((Npos (XO (XO (XO (XO (XO XH)))))) :: ((Npos (XO (XO (XO (XO
-    (XO XH)))))) :: ((Npos (XO (XO (XO (XO (XO XH)))))) :: ((Npos (XO (XO (XO
-    (XO (XO XH)))))) :: ((Npos (XO (XO (XO (XO (XO XH)))))) :: ((Npos (XO (XO
-    (XO (XO (XO XH)))))) :: ((Npos (XO (XO (XO (XO (XO XH)))))) :: ((Npos (XO
-    (XO (XO (XO (XO XH)))))) :: ((Npos (XO (XO (XO (XO (XO XH)))))) :: ((Npos
-    (XO (XO (XO (XO (XO XH)))))) :: ((Npos (XO (XO (XO (XO (XO
-    XH)))))) :: ((Npos (XO (XO (XO (XO (XO XH)))))) :: ((Npos (XO (XO (XO (XO
-    (XO XH)))))) :: ((Npos (XO (XO (XO (XO (XO XH)))))) :: ((Npos (XO (XO (XO
-    (XO (XO XH)))))) :: ((Npos (XO (XO (XO (XO (XO XH)))))) :: ((Npos (XO (XO
-    (XO (XO (XO XH)))))) :: ((Npos (XO (XO (XO (XO (XO XH)))))) :: ((Npos (XO
-    (XO (XO (XO (XO XH)))))) :: ((Npos (XO (XO (XO (XO (XO XH)))))) :: ((Npos
-    (XO (XO (XO (XO (XO XH)))))) :: ((Npos (XO (XO (XO (XO (XO
-    XH)))))) :: ((Npos (XO (XO (XO (XO (XO XH)))))) :: ((Npos (XO (XO (XO (XO
-    (XO XH)))))) :: [])))))))))))))))))))))))))))))))))))))))) :: []))))))));
-    l_cuts =
-    ((mkcut O (S O) EmptyString []) :: ((mkcut (S O) (S (S (S (S (S (S (S
-                                          O))))))) (String ((Ascii (false,
-                                          true, false, false, false, false,
-                                          true, false)), (String ((Ascii
-                                          (true, false, false, false, false,
-                                          true, true, false)), (String
-                                          ((Ascii (false, false, true, false,
-                                          true, true, true, false)), (String
-                                          ((Ascii (true, true, false, false,
-                                          false, true, true, false)), (String
-                                          ((Ascii (false, false, false, true,
-                                          false, true, true, false)), (String
-                                          ((Ascii (true, true, false, false,
-                                          false, false, true, false)),
-                                          (String ((Ascii (true, true, true,
-                                          true, false, true, true, false)),
-                                          (String ((Ascii (true, false, true,
-                                          false, true, true, true, false)),
-                                          (String ((Ascii (false, true, true,
-                                          true, false, true, true, false)),
-                                          (String ((Ascii (false, false,
-                                          true, false, true, true, true,
-                                          false)),
-                                          EmptyString))))))))))))))))))))
-                                          ((String ((Ascii (false, false,
-                                          false, false, true, true, true,
-                                          false)), (String ((Ascii (true,
-                                          false, false, false, false, true,
-                                          true, false)), (String ((Ascii
-                                          (false, true, false, false, true,
-                                          true, true, false)), (String
-                                          ((Ascii (true, true, false, false,
-                                          true, true, true, false)), (String
-                                          ((Ascii (true, false, true, false,
-                                          false, true, true, false)), (String
-                                          ((Ascii (false, true, true, true,
-                                          false, false, true, false)),
-                                          (String ((Ascii (true, false, true,
-                                          false, true, true, true, false)),
-                                          (String ((Ascii (true, false, true,
-                                          true, false, true, true, false)),
-                                          (String ((Ascii (false, true, true,
-                                          false, false, false, true, false)),
-                                          (String ((Ascii (true, false,
-                                          false, true, false, true, true,
-                                          false)), (String ((Ascii (true,
-                                          false, true, false, false, true,
-                                          true, false)), (String ((Ascii
-                                          (false, false, true, true, false,
-                                          true, true, false)), (String
-                                          ((Ascii (false, false, true, false,
-                                          false, true, true, false)),
-                                          EmptyString)))))))))))))))))))))))))) :: [])) :: (
-    (mkcut (S (S (S (S (S (S (S O))))))) (S (S (S (S (S (S (S (S (S (S (S (S
-      (S O))))))))))))) (String ((Ascii (false, true, false, false, false,
-      false, true, false)), (String ((Ascii (false, false, true, true, false,
-      true, true, false)), (String ((Ascii (true, true, true, true, false,
-      true, true, false)), (String ((Ascii (true, true, false, false, false,
-      true, true, false)), (String ((Ascii (true, true, false, true, false,
-      true, true, false)), (String ((Ascii (true, true, false, false, false,
-      false, true, false)), (String ((Ascii (true, true, true, true, false,
-      true, true, false)), (String ((Ascii (true, false, true, false, true,
-      true, true, false)), (String ((Ascii (false, true, true, true, false,
-      true, true, false)), (String ((Ascii (false, false, true, false, true,
-      true, true, false)), EmptyString)))))))))))))))))))) ((String ((Ascii
-      (false, false, false, false, true, true, true, false)), (String ((Ascii
-      (true, false, false, false, false, true, true, false)), (String ((Ascii
-      (false, true, false, false, true, true, true, false)), (String ((Ascii
-      (true, true, false, false, true, true, true, false)), (String ((Ascii
-      (true, false, true, false, false, true, true, false)), (String ((Ascii
-      (false, true, true, true, false, false, true, false)), (String ((Ascii
-      (true, false, true, false, true, true, true, false)), (String ((Ascii
-      (true, false, true, true, false, true, true, false)), (String ((Ascii
-      (false, true, true, false, false, false, true, false)), (String ((Ascii
-      (true, false, false, true, false, true, true, false)), (String ((Ascii
-      (true, false, true, false, false, true, true, false)), (String ((Ascii
-      (false, false, true, true, false, true, true, false)), (String ((Ascii
-      (false, false, true, false, false, true, true, false)),
-      EmptyString)))))))))))))))))))))))))) :: [])) :: ((mkcut (S (S (S (S (S
-                                                          (S (S (S (S (S (S
-                                                          (S (S
-                                                          O))))))))))))) (S
-                                                          (S (S (S (S (S (S
-                                                          (S (S (S (S (S (S
-                                                          (S (S (S (S (S (S
-                                                          (S (S
-                                                          O)))))))))))))))))))))
-                                                          (String ((Ascii
-                                                          (true, false, true,
-                                                          false, false,
-                                                          false, true,
-                                                          false)), (String
-                                                          ((Ascii (false,
-                                                          true, true, true,
-                                                          false, true, true,
-                                                          false)), (String
-                                                          ((Ascii (false,
-                                                          false, true, false,
-                                                          true, true, true,
-                                                          false)), (String
-                                                          ((Ascii (false,
-                                                          true, false, false,
-                                                          true, true, true,
-                                                          false)), (String
-                                                          ((Ascii (true,
-                                                          false, false, true,
-                                                          true, true, true,
-                                                          false)), (String
-                                                          ((Ascii (true,
-                                                          false, false,
-                                                          false, false,
-                                                          false, true,
-                                                          false)), (String
-                                                          ((Ascii (false,
-                                                          false, true, false,
-                                                          false, true, true,
-                                                          false)), (String
-                                                          ((Ascii (false,
-                                                          false, true, false,
-                                                          false, true, true,
-                                                          false)), (String
-                                                          ((Ascii (true,
-                                                          false, true, false,
-                                                          false, true, true,
-                                                          false)), (String
-                                                          ((Ascii (false,
-                                                          true, true, true,
-                                                          false, true, true,
-                                                          false)), (String
-                                                          ((Ascii (false,
-                                                          false, true, false,
-                                                          false, true, true,
-                                                          false)), (String
-                                                          ((Ascii (true,
-                                                          false, false,
-                                                          false, false, true,
-                                                          true, false)),
-                                                          (String ((Ascii
-                                                          (true, true, false,
-                                                          false, false,
-                                                          false, true,
-                                                          false)), (String
-                                                          ((Ascii (true,
-                                                          true, true, true,
-                                                          false, true, true,
-                                                          false)), (String
-                                                          ((Ascii (true,
-                                                          false, true, false,
-                                                          true, true, true,
-                                                          false)), (String
-                                                          ((Ascii (false,
-                                                          true, true, true,
-                                                          false, true, true,
-                                                          false)), (String
-                                                          ((Ascii (false,
-                                                          false, true, false,
-                                                          true, true, true,
-                                                          false)),
-                                                          EmptyString))))))))))))))))))))))))))))))))))
-                                                          ((String ((Ascii
-                                                          (false, false,
-                                                          false, false, true,
-                                                          true, true,
-                                                          false)), (String
-                                                          ((Ascii (true,
-                                                          false, false,
-                                                          false, false, true,
-                                                          true, false)),
-                                                          (String ((Ascii
-                                                          (false, true,
-                                                          false, false, true,
-                                                          true, true,
-                                                          false)), (String
-                                                          ((Ascii (true,
-                                                          true, false, false,
-                                                          true, true, true,
-                                                          false)), (String
-                                                          ((Ascii (true,
-                                                          false, true, false,
-                                                          false, true, true,
-                                                          false)), (String
-                                                          ((Ascii (false,
-                                                          true, true, true,
-                                                          false, false, true,
-                                                          false)), (String
-                                                          ((Ascii (true,
-                                                          false, true, false,
-                                                          true, true, true,
-                                                          false)), (String
-                                                          ((Ascii (true,
-                                                          false, true, true,
-                                                          false, true, true,
-                                                          false)), (String
-                                                          ((Ascii (false,
-                                                          true, true, false,
-                                                          false, false, true,
-                                                          false)), (String
-                                                          ((Ascii (true,
-                                                          false, false, true,
-                                                          false, true, true,
-                                                          false)), (String
-                                                          ((Ascii (true,
-                                                          false, true, false,
-                                                          false, true, true,
-                                                          false)), (String
-                                                          ((Ascii (false,
-                                                          false, true, true,
-                                                          false, true, true,
-                                                          false)), (String
-                                                          ((Ascii (false,
-                                                          false, true, false,
-                                                          false, true, true,
-                                                          false)),
-                                                          EmptyString)))))))))))))))))))))))))) :: [])) :: (
-    (mkcut (S (S (S (S (S (S (S (S (S (S (S (S (S (S (S (S (S (S (S (S (S
-      O))))))))))))))))))))) (S (S (S (S (S (S (S (S (S (S (S (S (S (S (S (S
-      (S (S (S (S (S (S (S (S (S (S (S (S (S (S (S
-      O))))))))))))))))))))))))))))))) (String ((Ascii (true, false, true,
-      false, false, false, true, false)), (String ((Ascii (false, true, true,
-      true, false, true, true, false)), (String ((Ascii (false, false, true,
-      false, true, true, true, false)), (String ((Ascii (false, true, false,
-      false, true, true, true, false)), (String ((Ascii (true, false, false,
-      true, true, true, true, false)), (String ((Ascii (false, false, false,
-      true, false, false, true, false)), (String ((Ascii (true, false, false,
-      false, false, true, true, false)), (String ((Ascii (true, true, false,
-      false, true, true, true, false)), (String ((Ascii (false, false, false,
-      true, false, true, true, false)), EmptyString))))))))))))))))))
-      ((String ((Ascii (false, false, false, false, true, true, true,
-      false)), (String ((Ascii (true, false, false, false, false, true, true,
-      false)), (String ((Ascii (false, true, false, false, true, true, true,
-      false)), (String ((Ascii (true, true, false, false, true, true, true,
-      false)), (String ((Ascii (true, false, true, false, false, true, true,
-      false)), (String ((Ascii (false, true, true, true, false, false, true,
-      false)), (String ((Ascii (true, false, true, false, true, true, true,
-      false)), (String ((Ascii (true, false, true, true, false, true, true,
-      false)), (String ((Ascii (false, true, true, false, false, false, true,
-      false)), (String ((Ascii (true, false, false, true, false, true, true,
-      false)), (String ((Ascii (true, false, true, false, false, true, true,
-      false)), (String ((Ascii (false, false, true, true, false, true, true,
-      false)), (String ((Ascii (false, false, true, false, false, true, true,
-      false)), EmptyString)))))))))))))))))))))))))) :: [])) :: ((mkcut (S (S
-                                                                   (S (S (S
-                                                                   (S (S (S
-                                                                   (S (S (S
-                                                                   (S (S (S
-                                                                   (S (S (S
-                                                                   (S (S (S
-                                                                   (S (S (S
-                                                                   (S (S (S
-                                                                   (S (S (S
-                                                                   (S (S
-                                                                   O)))))))))))))))))))))))))))))))
-                                                                   (S (S (S
-                                                                   (S (S (S
-                                                                   (S (S (S
-                                                                   (S (S (S
-                                                                   (S (S (S
-                                                                   (S (S (S
-                                                                   (S (S (S
-                                                                   (S (S (S
-                                                                   (S (S (S
-                                                                   (S (S (S
-                                                                   (S (S (S
-                                                                   (S (S (S
-                                                                   (S (S (S
-                                                                   (S (S (S
-                                                                   (S
-                                                                   O)))))))))))))))))))))))))))))))))))))))))))
-                                                                   (String
-                                                                   ((Ascii
-                                                                   (false,
-                                                                   false,
-                                                                   true,
-                                                                   false,
-                                                                   true,
-                                                                   false,
-                                                                   true,
-                                                                   false)),
-                                                                   (String
-                                                                   ((Ascii
-                                                                   (true,
-                                                                   true,
-                                                                   true,
-                                                                   true,
-                                                                   false,
-                                                                   true,
-                                                                   true,
-                                                                   false)),
-                                                                   (String
-                                                                   ((Ascii
-                                                                   (false,
-                                                                   false,
-                                                                   true,
-                                                                   false,
-                                                                   true,
-                                                                   true,
-                                                                   true,
-                                                                   false)),
-                                                                   (String
-                                                                   ((Ascii
-                                                                   (true,
-                                                                   false,
-                                                                   false,
-                                                                   false,
-                                                                   false,
-                                                                   true,
-                                                                   true,
-                                                                   false)),
-                                                                   (String
-                                                                   ((Ascii
-                                                                   (false,
-                                                                   false,
-                                                                   true,
-                                                                   true,
-                                                                   false,
-                                                                   true,
-                                                                   true,
-                                                                   false)),
-                                                                   (String
-                                                                   ((Ascii
-                                                                   (false,
-                                                                   false,
-                                                                   true,
-                                                                   false,
-                                                                   false,
-                                                                   false,
-                                                                   true,
-                                                                   false)),
-                                                                   (String
-                                                                   ((Ascii
-                                                                   (true,
-                                                                   false,
-                                                                   true,
-                                                                   false,
-                                                                   false,
-                                                                   true,
-                                                                   true,
-                                                                   false)),
-                                                                   (String
-                                                                   ((Ascii
-                                                                   (false,
-                                                                   true,
-                                                                   false,
-                                                                   false,
-                                                                   false,
-                                                                   true,
-                                                                   true,
-                                                                   false)),
-                                                                   (String
-                                                                   ((Ascii
-                                                                   (true,
-                                                                   false,
-                                                                   false,
-                                                                   true,
-                                                                   false,
-                                                                   true,
-                                                                   true,
-                                                                   false)),
-                                                                   (String
-                                                                   ((Ascii
-                                                                   (false,
-                                                                   false,
-                                                                   true,
-                                                                   false,
-                                                                   true,
-                                                                   true,
-                                                                   true,
-                                                                   false)),
-                                                                   (String
-                                                                   ((Ascii
-                                                                   (true,
-                                                                   false,
-                                                                   true,
-                                                                   false,
-                                                                   false,
-                                                                   false,
-                                                                   true,
-                                                                   false)),
-                                                                   (String
-                                                                   ((Ascii
-                                                                   (false,
-                                                                   true,
-                                                                   true,
-                                                                   true,
-                                                                   false,
-                                                                   true,
-                                                                   true,
-                                                                   false)),
-                                                                   (String
-                                                                   ((Ascii
-                                                                   (false,
-                                                                   false,
-                                                                   true,
-                                                                   false,
-                                                                   true,
-                                                                   true,
-                                                                   true,
-                                                                   false)),
-                                                                   (String
-                                                                   ((Ascii
-                                                                   (false,
-                                                                   true,
-                                                                   false,
-                                                                   false,
-                                                                   true,
-                                                                   true,
-                                                                   true,
-                                                                   false)),
-                                                                   (String
-                                                                   ((Ascii
-                                                                   (true,
-                                                                   false,
-                                                                   false,
-                                                                   true,
-                                                                   true,
-                                                                   true,
-                                                                   true,
-                                                                   false)),
-                                                                   (String
-                                                                   ((Ascii
-                                                                   (false,
-                                                                   false,
-                                                                   true,
-                                                                   false,
-                                                                   false,
-                                                                   false,
-                                                                   true,
-                                                                   false)),
-                                                                   (String
-                                                                   ((Ascii
-                                                                   (true,
-                                                                   true,
-                                                                   true,
-                                                                   true,
-                                                                   false,
-                                                                   true,
-                                                                   true,
-                                                                   false)),
-                                                                   (String
-                                                                   ((Ascii
-                                                                   (false,
-                                                                   false,
-                                                                   true,
-                                                                   true,
-                                                                   false,
-                                                                   true,
-                                                                   true,
-                                                                   false)),
-                                                                   (String
-                                                                   ((Ascii
-                                                                   (false,
-                                                                   false,
-                                                                   true,
-                                                                   true,
-                                                                   false,
-                                                                   true,
-                                                                   true,
-                                                                   false)),
-                                                                   (String
-                                                                   ((Ascii
-                                                                   (true,
-                                                                   false,
-                                                                   false,
-                                                                   false,
-                                                                   false,
-                                                                   true,
-                                                                   true,
-                                                                   false)),
-                                                                   (String
-                                                                   ((Ascii
-                                                                   (false,
-                                                                   true,
-                                                                   false,
-                                                                   false,
-                                                                   true,
-                                                                   true,
-                                                                   true,
-                                                                   false)),
-                                                                   (String
-                                                                   ((Ascii
-                                                                   (true,
-                                                                   false,
-                                                                   false,
-                                                                   false,
-                                                                   false,
-                                                                   false,
-                                                                   true,
-                                                                   false)),
-                                                                   (String
-                                                                   ((Ascii
-                                                                   (true,
-                                                                   false,
-                                                                   true,
-                                                                   true,
-                                                                   false,
-                                                                   true,
-                                                                   true,
-                                                                   false)),
-                                                                   (String
-                                                                   ((Ascii
-                                                                   (true,
-                                                                   true,
-                                                                   true,
-                                                                   true,
-                                                                   false,
-                                                                   true,
-                                                                   true,
-                                                                   false)),
-                                                                   (String
-                                                                   ((Ascii
-                                                                   (true,
-                                                                   false,
-                                                                   true,
-                                                                   false,
-                                                                   true,
-                                                                   true,
-                                                                   true,
-                                                                   false)),
-                                                                   (String
-                                                                   ((Ascii
-                                                                   (false,
-                                                                   true,
-                                                                   true,
-                                                                   true,
-                                                                   false,
-                                                                   true,
-                                                                   true,
-                                                                   false)),
-                                                                   (String
-                                                                   ((Ascii
-                                                                   (false,
-                                                                   false,
-                                                                   true,
-                                                                   false,
-                                                                   true,
-                                                                   true,
-                                                                   true,
-                                                                   false)),
-                                                                   (String
-                                                                   ((Ascii
-                                                                   (true,
-                                                                   false,
-                                                                   false,
-                                                                   true,
-                                                                   false,
-                                                                   false,
-                                                                   true,
-                                                                   false)),
-                                                                   (String
-                                                                   ((Ascii
-                                                                   (false,
-                                                                   true,
-                                                                   true,
-                                                                   true,
-                                                                   false,
-                                                                   true,
-                                                                   true,
-                                                                   false)),
-                                                                   (String
-                                                                   ((Ascii
-                                                                   (false,
-                                                                   true,
-                                                                   true,
-                                                                   false,
-                                                                   false,
-                                                                   false,
-                                                                   true,
-                                                                   false)),
-                                                                   (String
-                                                                   ((Ascii
-                                                                   (true,
-                                                                   false,
-                                                                   false,
-                                                                   true,
-                                                                   false,
-                                                                   true,
-                                                                   true,
-                                                                   false)),
-                                                                   (String
-                                                                   ((Ascii
-                                                                   (false,
-                                                                   false,
-                                                                   true,
-                                                                   true,
-                                                                   false,
-                                                                   true,
-                                                                   true,
-                                                                   false)),
-                                                                   (String
-                                                                   ((Ascii
-                                                                   (true,
-                                                                   false,
-                                                                   true,
-                                                                   false,
-                                                                   false,
-                                                                   true,
-                                                                   true,
-                                                                   false)),
-                                                                   EmptyString))))))))))))))))))))))))))))))))))))))))))))))))))))))))))))))))))
-                                                                   ((String
-                                                                   ((Ascii
-                                                                   (false,
-                                                                   false,
-                                                                   false,
-                                                                   false,
-                                                                   true,
-                                                                   true,
-                                                                   true,
-                                                                   false)),
-                                                                   (String
-                                                                   ((Ascii
-                                                                   (true,
-                                                                   false,
-                                                                   false,
-                                                                   false,
-                                                                   false,
-                                                                   true,
-                                                                   true,
-                                                                   false)),
-                                                                   (String
-                                                                   ((Ascii
-                                                                   (false,
-                                                                   true,
-                                                                   false,
-                                                                   false,
-                                                                   true,
-                                                                   true,
-                                                                   true,
-                                                                   false)),
-                                                                   (String
-                                                                   ((Ascii
-                                                                   (true,
-                                                                   true,
-                                                                   false,
-                                                                   false,
-                                                                   true,
-                                                                   true,
-                                                                   true,
-                                                                   false)),
-                                                                   (String
-                                                                   ((Ascii
-                                                                   (true,
-                                                                   false,
-                                                                   true,
-                                                                   false,
-                                                                   false,
-                                                                   true,
-                                                                   true,
-                                                                   false)),
-                                                                   (String
-                                                                   ((Ascii
-                                                                   (false,
-                                                                   true,
-                                                                   true,
-                                                                   true,
-                                                                   false,
-                                                                   false,
-                                                                   true,
-                                                                   false)),
-                                                                   (String
-                                                                   ((Ascii
-                                                                   (true,
-                                                                   false,
-                                                                   true,
-                                                                   false,
-                                                                   true,
-                                                                   true,
-                                                                   true,
-                                                                   false)),
-                                                                   (String
-                                                                   ((Ascii
-                                                                   (true,
-                                                                   false,
-                                                                   true,
-                                                                   true,
-                                                                   false,
-                                                                   true,
-                                                                   true,
-                                                                   false)),
-                                                                   (String
-                                                                   ((Ascii
-                                                                   (false,
-                                                                   true,
-                                                                   true,
-                                                                   false,
-                                                                   false,
-                                                                   false,
-                                                                   true,
-                                                                   false)),
-                                                                   (String
-                                                                   ((Ascii
-                                                                   (true,
-                                                                   false,
-                                                                   false,
-                                                                   true,
-                                                                   false,
-                                                                   true,
-                                                                   true,
-                                                                   false)),
-                                                                   (String
-                                                                   ((Ascii
-                                                                   (true,
-                                                                   false,
-                                                                   true,
-                                                                   false,
-                                                                   false,
-                                                                   true,
-                                                                   true,
-                                                                   false)),
-                                                                   (String
-                                                                   ((Ascii
-                                                                   (false,
-                                                                   false,
-                                                                   true,
-                                                                   true,
-                                                                   false,
-                                                                   true,
-                                                                   true,
-                                                                   false)),
-                                                                   (String
-                                                                   ((Ascii
-                                                                   (false,
-                                                                   false,
-                                                                   true,
-                                                                   false,
-                                                                   false,
-                                                                   true,
-                                                                   true,
-                                                                   false)),
-                                                                   EmptyString)))))))))))))))))))))))))) :: [])) :: (
-    (mkcut (S (S (S (S (S (S (S (S (S (S (S (S (S (S (S (S (S (S (S (S (S (S
-      (S (S (S (S (S (S (S (S (S (S (S (S (S (S (S (S (S (S (S (S (S
-      O))))))))))))))))))))))))))))))))))))))))))) (S (S (S (S (S (S (S (S (S
-      (S (S (S (S (S (S (S (S (S (S (S (S (S (S (S (S (S (S (S (S (S (S (S (S
-      (S (S (S (S (S (S (S (S (S (S (S (S (S (S (S (S (S (S (S (S (S (S
-      O))))))))))))))))))))))))))))))))))))))))))))))))))))))) (String
-      ((Ascii (false, false, true, false, true, false, true, false)), (String
-      ((Ascii (true, true, true, true, false, true, true, false)), (String
-      ((Ascii (false, false, true, false, true, true, true, false)), (String
-      ((Ascii (true, false, false, false, false, true, true, false)), (String
-      ((Ascii (false, false, true, true, false, true, true, false)), (String
-      ((Ascii (true, true, false, false, false, false, true, false)), (String
-      ((Ascii (false, true, false, false, true, true, true, false)), (String
-      ((Ascii (true, false, true, false, false, true, true, false)), (String
-      ((Ascii (false, false, true, false, false, true, true, false)), (String
-      ((Ascii (true, false, false, true, false, true, true, false)), (String
-      ((Ascii (false, false, true, false, true, true, true, false)), (String
-      ((Ascii (true, false, true, false, false, false, true, false)), (String
-      ((Ascii (false, true, true, true, false, true, true, false)), (String
-      ((Ascii (false, false, true, false, true, true, true, false)), (String
-      ((Ascii (false, true, false, false, true, true, true, false)), (String
-      ((Ascii (true, false, false, true, true, true, true, false)), (String
-      ((Ascii (false, false, true, false, false, false, true, false)),
-      (String ((Ascii (true, true, true, true, false, true, true, false)),
-      (String ((Ascii (false, false, true, true, false, true, true, false)),
-      (String ((Ascii (false, false, true, true, false, true, true, false)),
-      (String ((Ascii (true, false, false, false, false, true, true, false)),
-      (String ((Ascii (false, true, false, false, true, true, true, false)),
-      (String ((Ascii (true, false, false, false, false, false, true,
-      false)), (String ((Ascii (true, false, true, true, false, true, true,
-      false)), (String ((Ascii (true, true, true, true, false, true, true,
-      false)), (String ((Ascii (true, false, true, false, true, true, true,
-      false)), (String ((Ascii (false, true, true, true, false, true, true,
-      false)), (String ((Ascii (false, false, true, false, true, true, true,
-      false)), (String ((Ascii (true, false, false, true, false, false, true,
-      false)), (String ((Ascii (false, true, true, true, false, true, true,
-      false)), (String ((Ascii (false, true, true, false, false, false, true,
-      false)), (String ((Ascii (true, false, false, true, false, true, true,
-      false)), (String ((Ascii (false, false, true, true, false, true, true,
-      false)), (String ((Ascii (true, false, true, false, false, true, true,
-      false)),
-      EmptyString))))))))))))))))))))))))))))))))))))))))))))))))))))))))))))))))))))
-      ((String ((Ascii (false, false, false, false, true, true, true,
-      false)), (String ((Ascii (true, false, false, false, false, true, true,
-      false)), (String ((Ascii (false, true, false, false, true, true, true,
-      false)), (String ((Ascii (true, true, false, false, true, true, true,
-      false)), (String ((Ascii (true, false, true, false, false, true, true,
-      false)), (String ((Ascii (false, true, true, true, false, false, true,
-      false)), (String ((Ascii (true, false, true, false, true, true, true,
-      false)), (String ((Ascii (true, false, true, true, false, true, true,
-      false)), (String ((Ascii (false, true, true, false, false, false, true,
-      false)), (String ((Ascii (true, false, false, true, false, true, true,
-      false)), (String ((Ascii (true, false, true, false, false, true, true,
-      false)), (String ((Ascii (false, false, true, true, false, true, true,
-      false)), (String ((Ascii (false, false, true, false, false, true, true,
-      false)), EmptyString)))))))))))))))))))))))))) :: [])) :: ((mkcut (S (S
-                                                                   (S (S (S
-                                                                   (S (S (S
-                                                                   (S (S (S
-                                                                   (S (S (S
-                                                                   (S (S (S
-                                                                   (S (S (S
-                                                                   (S (S (S
-                                                                   (S (S (S
-                                                                   (S (S (S
-                                                                   (S (S (S
-                                                                   (S (S (S
-                                                                   (S (S (S
-                                                                   (S (S (S
-                                                                   (S (S (S
-                                                                   (S (S (S
-                                                                   (S (S (S
-                                                                   (S (S (S
-                                                                   (S (S
-                                                                   O)))))))))))))))))))))))))))))))))))))))))))))))))))))))
-                                                                   (S (S (S
-                                                                   (S (S (S
-                                                                   (S (S (S
-                                                                   (S (S (S
-                                                                   (S (S (S
-                                                                   (S (S (S
-                                                                   (S (S (S
-                                                                   (S (S (S
-                                                                   (S (S (S
-                                                                   (S (S (S
-                                                                   (S (S (S
-                                                                   (S (S (S
-                                                                   (S (S (S
-                                                                   (S (S (S
-                                                                   (S (S (S
-                                                                   (S (S (S
-                                                                   (S (S (S
-                                                                   (S (S (S
-                                                                   (S (S (S
-                                                                   (S (S (S
-                                                                   (S (S (S
-                                                                   (S (S (S
-                                                                   (S (S (S
-                                                                   (S (S (S
-                                                                   (S (S (S
-                                                                   (S (S (S
-                                                                   (S (S (S
-                                                                   (S (S (S
-                                                                   (S (S (S
-                                                                   (S (S (S
-                                                                   (S (S (S
-                                                                   (S
-                                                                   O))))))))))))))))))))))))))))))))))))))))))))))))))))))))))))))))))))))))))))))))))))))))))))))
-                                                                   EmptyString
-                                                                   []) :: [])))))))) }
-
-(** val l_FileHeader : layout **)
-
-let l_FileHeader =
-  { l_name = (String ((Ascii (false, true, true, false, false, false, true,
-    false)), (String ((Ascii (true, false, false, true, false, true, true,
-    false)), (String ((Ascii (false, false, true, true, false, true, true,
-    false)), (String ((Ascii (true, false, true, false, false, true, true,
-    false)), (String ((Ascii (false, false, false, true, false, false, true,
-    false)), (String ((Ascii (true, false, true, false, false, true, true,
-    false)), (String ((Ascii (true, false, false, false, false, true, true,
-    false)), (String ((Ascii (false, false, true, false, false, true, true,
-    false)), (String ((Ascii (true, false, true, false, false, true, true,
-    false)), (String ((Ascii (false, true, false, false, true, true, true,
-    false)), EmptyString)))))))))))))))))))); l_ix = IRune; l_segs = ((SLit
-    ((Npos (XI (XO (XO (XO (XI XH)))))) :: [])) :: ((SRaw (String ((Ascii
-    (false, false, false, false, true, true, true, false)), (String ((Ascii
-    (false, true, false, false, true, true, true, false)), (String ((Ascii
-    (true, false, false, true, false, true, true, false)), (String ((Ascii
-    (true, true, true, true, false, true, true, false)), (String ((Ascii
-    (false, true, false, false, true, true, true, false)), (String ((Ascii
-    (true, false, false, true, false, true, true, false)), (String ((Ascii
-    (false, false, true, false, true, true, true, false)), (String ((Ascii
-    (true, false, false, true, true, true, true, false)), (String ((Ascii
-    (true, true, false, false, false, false, true, false)), (String ((Ascii
-    (true, true, true, true, false, true, true, false)), (String ((Ascii
-    (false, false, true, false, false, true, true, false)), (String ((Ascii
-    (true, false, true, false, false, true, true, false)),
-    EmptyString))))))))))))))))))))))))) :: ((SCustom ((String ((Ascii
-    (false, true, true, false, false, false, true, false)), (String ((Ascii
-    (true, false, false, true, false, true, true, false)), (String ((Ascii
-    (false, false, true, true, false, true, true, false)), (String ((Ascii
-    (true, false, true, false, false, true, true, false)), (String ((Ascii
-    (false, false, false, true, false, false, true, false)), (String ((Ascii
-    (true, false, true, false, false, true, true, false)), (String ((Ascii
-    (true, false, false, false, false, true, true, false)), (String ((Ascii
-    (false, false, true, false, false, true, true, false)), (String ((Ascii
-    (true, false, true, false, false, true, true, false)), (String ((Ascii
-    (false, true, false, false, true, true, true, false)), (String ((Ascii
-    (false, true, true, true, false, true, false, false)), (String ((Ascii
-    (true, false, false, true, false, false, true, false)), (String ((Ascii
-    (true, false, true, true, false, true, true, false)), (String ((Ascii
-    (true, false, true, true, false, true, true, false)), (String ((Ascii
-    (true, false, true, false, false, true, true, false)), (String ((Ascii
-    (false, false, true, false, false, true, true, false)), (String ((Ascii
-    (true, false, false, true, false, true, true, false)), (String ((Ascii
-    (true, false, false, false, false, true, true, false)), (String ((Ascii
-    (false, false, true, false, true, true, true, false)), (String ((Ascii
-    (true, false, true, false, false, true, true, false)), (String ((Ascii
-    (false, false, true, false, false, false, true, false)), (String ((Ascii
-    (true, false, true, false, false, true, true, false)), (String ((Ascii
-    (true, true, false, false, true, true, true, false)), (String ((Ascii
-    (false, false, true, false, true, true, true, false)), (String ((Ascii
-    (true, false, false, true, false, true, true, false)), (String ((Ascii
-    (false, true, true, true, false, true, true, false)), (String ((Ascii
-    (true, false, false, false, false, true, true, false)), (String ((Ascii
-    (false, false, true, false, true, true, true, false)), (String ((Ascii
-    (true, false, false, true, false, true, true, false)), (String ((Ascii
-    (true, true, true, true, false, true, true, false)), (String ((Ascii
-    (false, true, true, true, false, true, true, false)), (String ((Ascii
-    (false, true, true, false, false, false, true, false)), (String ((Ascii
-    (true, false, false, true, false, true, true, false)), (String ((Ascii
-    (true, false, true, false, false, true, true, false)), (String ((Ascii
-    (false, false, true, true, false, true, true, false)), (String ((Ascii
-    (false, false, true, false, false, true, true, false)),
-    EmptyString)))))))))))))))))))))))))))))))))))))))))))))))))))))))))))))))))))))))),
-    (String ((Ascii (true, true, true, false, true, true, false, false)),
-    (String ((Ascii (false, false, false, false, true, true, false, false)),
-    (String ((Ascii (true, true, false, false, false, true, true, false)),
-    (String ((Ascii (true, false, true, false, false, true, true, false)),
-    (String ((Ascii (true, false, true, false, false, true, true, false)),
-    (String ((Ascii (true, false, false, false, false, true, true, false)),
-    (String ((Ascii (false, true, false, false, false, true, true, false)),
-    (String ((Ascii (false, true, true, false, true, true, false, false)),
-    (String ((Ascii (false, true, true, false, false, true, true, false)),
-    (String ((Ascii (true, false, true, false, true, true, false, false)),
-    (String ((Ascii (false, true, true, false, false, true, true, false)),
-    (String ((Ascii (true, true, false, false, true, true, false, false)),
-    EmptyString)))))))))))))))))))))))))) :: ((SCustom ((String ((Ascii
-    (false, true, true, false, false, false, true, false)), (String ((Ascii
-    (true, false, false, true, false, true, true, false)), (String ((Ascii
-    (false, false, true, true, false, true, true, false)), (String ((Ascii
-    (true, false, true, false, false, true, true, false)), (String ((Ascii
-    (false, false, false, true, false, false, true, false)), (String ((Ascii
-    (true, false, true, false, false, true, true, false)), (String ((Ascii
-    (true, false, false, false, false, true, true, false)), (String ((Ascii
-    (false, false, true, false, false, true, true, false)), (String ((Ascii
-    (true, false, true, false, false, true, true, false)), (String ((Ascii
-    (false, true, false, false, true, true, true, false)), (String ((Ascii
-    (false, true, true, true, false, true, false, false)), (String ((Ascii
-    (true, false, false, true, false, false, true, false)), (String ((Ascii
-    (true, false, true, true, false, true, true, false)), (String ((Ascii
-    (true, false, true, true, false, true, true, false)), (String ((Ascii
-    (true, false, true, false, false, true, true, false)), (String ((Ascii
-    (false, false, true, false, false, true, true, false)), (String ((Ascii
-    (true, false, false, true, false, true, true, false)), (String ((Ascii
-    (true, false, false, false, false, true, true, false)), (String ((Ascii
-    (false, false, true, false, true, true, true, false)), (String ((Ascii
-    (true, false, true, false, false, true, true, false)), (String ((Ascii
-    (true, true, true, true, false, false, true, false)), (String ((Ascii
-    (false, true, false, false, true, true, true, false)), (String ((Ascii
-    (true, false, false, true, false, true, true, false)), (String ((Ascii
-    (true, true, true, false, false, true, true, false)), (String ((Ascii
-    (true, false, false, true, false, true, true, false)), (String ((Ascii
-    (false, true, true, true, false, true, true, false)), (String ((Ascii
-    (false, true, true, false, false, false, true, false)), (String ((Ascii
-    (true, false, false, true, false, true, true, false)), (String ((Ascii
-    (true, false, true, false, false, true, true, false)), (String ((Ascii
-    (false, false, true, true, false, true, true, false)), (String ((Ascii
-    (false, false, true, false, false, true, true, false)),
-    EmptyString)))))))))))))))))))))))))))))))))))))))))))))))))))))))))))))),
-    (String ((Ascii (true, false, false, false, true, true, false, false)),
-    (String ((Ascii (false, true, true, false, false, true, true, false)),
-    (String ((Ascii (false, false, false, false, true, true, false, false)),
-    (String ((Ascii (false, false, false, true, true, true, false, false)),
-    (String ((Ascii (false, false, false, false, true, true, false, false)),
-    (String ((Ascii (false, false, true, false, true, true, false, false)),
-    (String ((Ascii (false, true, false, false, false, true, true, false)),
-    (String ((Ascii (true, true, false, false, false, true, true, false)),
-    (String ((Ascii (false, true, false, false, false, true, true, false)),
-    (String ((Ascii (false, false, true, false, false, true, true, false)),
-    (String ((Ascii (true, false, false, false, false, true, true, false)),
-    (String ((Ascii (true, true, true, false, true, true, false, false)),
-    EmptyString)))))))))))))))))))))))))) :: ((SCustom ((String ((Ascii
-    (false, true, true, false, false, false, true, false)), (String ((Ascii
-    (true, false, false, true, false, true, true, false)), (String ((Ascii
-    (false, false, true, true, false, true, true, false)), (String ((Ascii
-    (true, false, true, false, false, true, true, false)), (String ((Ascii
-    (false, false, false, true, false, false, true, false)), (String ((Ascii
-    (true, false, true, false, false, true, true, false)), (String ((Ascii
-    (true, false, false, false, false, true, true, false)), (String ((Ascii
-    (false, false, true, false, false, true, true, false)), (String ((Ascii
-    (true, false, true, false, false, true, true, false)), (String ((Ascii
-    (false, true, false, false, true, true, true, false)), (String ((Ascii
-    (false, true, true, true, false, true, false, false)), (String ((Ascii
-    (false, true, true, false, false, false, true, false)), (String ((Ascii
-    (true, false, false, true, false, true, true, false)), (String ((Ascii
-    (false, false, true, true, false, true, true, false)), (String ((Ascii
-    (true, false, true, false, false, true, true, false)), (String ((Ascii
-    (true, true, false, false, false, false, true, false)), (String ((Ascii
-    (false, true, false, false, true, true, true, false)), (String ((Ascii
-    (true, false, true, false, false, true, true, false)), (String ((Ascii
-    (true, false, false, false, false, true, true, false)), (String ((Ascii
-    (false, false, true, false, true, true, true, false)), (String ((Ascii
-    (true, false, false, true, false, true, true, false)), (String ((Ascii
-    (true, true, true, true, false, true, true, false)), (String ((Ascii
-    (false, true, true, true, false, true, true, false)), (String ((Ascii
-    (false, false, true, false, false, false, true, false)), (String ((Ascii
-    (true, false, false, false, false, true, true, false)), (String ((Ascii
-    (false, false, true, false, true, true, true, false)), (String ((Ascii
-    (true, false, true, false, false, true, true, false)), (String ((Ascii
-    (false, true, true, false, false, false, true, false)), (String ((Ascii
-    (true, false, false, true, false, true, true, false)), (String ((Ascii
-    (true, false, true, false, false, true, true, false)), (String ((Ascii
-    (false, false, true, true, false, true, true, false)), (String ((Ascii
-    (false, false, true, false, false, true, true, false)),
-    EmptyString)))))))))))))))))))))))))))))))))))))))))))))))))))))))))))))))),
-    (String ((Ascii (true, false, false, false, true, true, false, false)),
-    (String ((Ascii (true, false, true, false, true, true, false, false)),
-    (String ((Ascii (true, true, false, false, false, true, true, false)),
-    (String ((Ascii (false, false, true, false, true, true, false, false)),
-    (String ((Ascii (true, true, true, false, true, true, false, false)),
-    (String ((Ascii (true, false, true, false, true, true, false, false)),
-    (String ((Ascii (true, true, false, false, false, true, true, false)),
-    (String ((Ascii (false, false, true, false, false, true, true, false)),
-    (String ((Ascii (true, false, false, false, false, true, true, false)),
-    (String ((Ascii (true, true, false, false, false, true, true, false)),
-    (String ((Ascii (false, true, false, false, false, true, true, false)),
-    (String ((Ascii (false, false, false, false, true, true, false, false)),
-    EmptyString)))))))))))))))))))))))))) :: ((SCustom ((String ((Ascii
-    (false, true, true, false, false, false, true, false)), (String ((Ascii
-    (true, false, false, true, false, true, true, false)), (String ((Ascii
-    (false, false, true, true, false, true, true, false)), (String ((Ascii
-    (true, false, true, false, false, true, true, false)), (String ((Ascii
-    (false, false, false, true, false, false, true, false)), (String ((Ascii
-    (true, false, true, false, false, true, true, false)), (String ((Ascii
-    (true, false, false, false, false, true, true, false)), (String ((Ascii
-    (false, false, true, false, false, true, true, false)), (String ((Ascii
-    (true, false, true, false, false, true, true, false)), (String ((Ascii
-    (false, true, false, false, true, true, true, false)), (String ((Ascii
-    (false, true, true, true, false, true, false, false)), (String ((Ascii
-    (false, true, true, false, false, false, true, false)), (String ((Ascii
-    (true, false, false, true, false, true, true, false)), (String ((Ascii
-    (false, false, true, true, false, true, true, false)), (String ((Ascii
-    (true, false, true, false, false, true, true, false)), (String ((Ascii
-    (true, true, false, false, false, false, true, false)), (String ((Ascii
-    (false, true, false, false, true, true, true, false)), (String ((Ascii
-    (true, false, true, false, false, true, true, false)), (String ((Ascii
-    (true, false, false, false, false, true, true, false)), (String ((Ascii
-    (false, false, true, false, true, true, true, false)), (String ((Ascii
-    (true, false, false, true, false, true, true, false)), (String ((Ascii
-    (true, true, true, true, false, true, true, false)), (String ((Ascii
-    (false, true, true, true, false, true, true, false)), (String ((Ascii
-    (false, false, true, false, true, false, true, false)), (String ((Ascii
-    (true, false, false, true, false, true, true, false)), (String ((Ascii
-    (true, false, true, true, false, true, true, false)), (String ((Ascii
-    (true, false, true, false, false, true, true, false)), (String ((Ascii
-    (false, true, true, false, false, false, true, false)), (String ((Ascii
-    (true, false, false, true, false, true, true, false)), (String ((Ascii
-    (true, false, true, false, false, true, true, false)), (String ((Ascii
-    (false, false, true, true, false, true, true, false)), (String ((Ascii
-    (false, false, true, false, false, true, true, false)),
-    EmptyString)))))))))))))))))))))))))))))))))))))))))))))))))))))))))))))))),
-    (String ((Ascii (true, false, false, true, true, true, false, false)),
-    (String ((Ascii (false, true, true, false, true, true, false, false)),
-    (String ((Ascii (false, true, true, false, false, true, true, false)),
-    (String ((Ascii (true, true, false, false, false, true, true, false)),
-    (String ((Ascii (true, true, true, false, true, true, false, false)),
-    (String ((Ascii (true, true, false, false, true, true, false, false)),
-    (String ((Ascii (true, false, true, false, false, true, true, false)),
-    (String ((Ascii (false, true, false, false, true, true, false, false)),
-    (String ((Ascii (false, false, true, false, true, true, false, false)),
-    (String ((Ascii (true, false, false, true, true, true, false, false)),
-    (String ((Ascii (true, false, false, false, false, true, true, false)),
-    (String ((Ascii (false, false, true, false, true, true, false, false)),
-    EmptyString)))))))))))))))))))))))))) :: ((SRaw (String ((Ascii (false,
-    true, true, false, false, false, true, false)), (String ((Ascii (true,
-    false, false, true, false, true, true, false)), (String ((Ascii (false,
-    false, true, true, false, true, true, false)), (String ((Ascii (true,
-    false, true, false, false, true, true, false)), (String ((Ascii (true,
-    false, false, true, false, false, true, false)), (String ((Ascii (false,
-    false, true, false, false, false, true, false)), (String ((Ascii (true,
-    false, true, true, false, false, true, false)), (String ((Ascii (true,
-    true, true, true, false, true, true, false)), (String ((Ascii (false,
-    false, true, false, false, true, true, false)), (String ((Ascii (true,
-    false, false, true, false, true, true, false)), (String ((Ascii (false,
-    true, true, false, false, true, true, false)), (String ((Ascii (true,
-    false, false, true, false, true, true, false)), (String ((Ascii (true,
-    false, true, false, false, true, true, false)), (String ((Ascii (false,
-    true, false, false, true, true, true, false)),
-    EmptyString))))))))))))))))))))))))))))) :: ((SRaw (String ((Ascii
-    (false, true, false, false, true, true, true, false)), (String ((Ascii
-    (true, false, true, false, false, true, true, false)), (String ((Ascii
-    (true, true, false, false, false, true, true, false)), (String ((Ascii
-    (true, true, true, true, false, true, true, false)), (String ((Ascii
-    (false, true, false, false, true, true, true, false)), (String ((Ascii
-    (false, false, true, false, false, true, true, false)), (String ((Ascii
-    (true, true, false, false, true, false, true, false)), (String ((Ascii
-    (true, false, false, true, false, true, true, false)), (String ((Ascii
-    (false, true, false, true, true, true, true, false)), (String ((Ascii
-    (true, false, true, false, false, true, true, false)),
-    EmptyString))))))))))))))))))))) :: ((SRaw (String ((Ascii (false, true,
-    false, false, false, true, true, false)), (String ((Ascii (false, false,
-    true, true, false, true, true, false)), (String ((Ascii (true, true,
-    true, true, false, true, true, false)), (String ((Ascii (true, true,
-    false, false, false, true, true, false)), (String ((Ascii (true, true,
-    false, true, false, true, true, false)), (String ((Ascii (true, false,
-    false, true, false, true, true, false)), (String ((Ascii (false, true,
-    true, true, false, true, true, false)), (String ((Ascii (true, true,
-    true, false, false, true, true, false)), (String ((Ascii (false, true,
-    true, false, false, false, true, false)), (String ((Ascii (true, false,
-    false, false, false, true, true, false)), (String ((Ascii (true, true,
-    false, false, false, true, true, false)), (String ((Ascii (false, false,
-    true, false, true, true, true, false)), (String ((Ascii (true, true,
-    true, true, false, true, true, false)), (String ((Ascii (false, true,
-    false, false, true, true, true, false)),
-    EmptyString))))))))))))))))))))))))))))) :: ((SRaw (String ((Ascii
-    (false, true, true, false, false, true, true, false)), (String ((Ascii
-    (true, true, true, true, false, true, true, false)), (String ((Ascii
-    (false, true, false, false, true, true, true, false)), (String ((Ascii
-    (true, false, true, true, false, true, true, false)), (String ((Ascii
-    (true, false, false, false, false, true, true, false)), (String ((Ascii
-    (false, false, true, false, true, true, true, false)), (String ((Ascii
-    (true, true, false, false, false, false, true, false)), (String ((Ascii
-    (true, true, true, true, false, true, true, false)), (String ((Ascii
-    (false, false, true, false, false, true, true, false)), (String ((Ascii
-    (true, false, true, false, false, true, true, false)),
-    EmptyString))))))))))))))))))))) :: ((SAlpha ((String ((Ascii (true,
-    false, false, true, false, false, true, false)), (String ((Ascii (true,
-    false, true, true, false, true, true, false)), (String ((Ascii (true,
-    false, true, true, false, true, true, false)), (String ((Ascii (true,
-    false, true, false, false, true, true, false)), (String ((Ascii (false,
-    false, true, false, false, true, true, false)), (String ((Ascii (true,
-    false, false, true, false, true, true, false)), (String ((Ascii (true,
-    false, false, false, false, true, true, false)), (String ((Ascii (false,
-    false, true, false, true, true, true, false)), (String ((Ascii (true,
-    false, true, false, false, true, true, false)), (String ((Ascii (false,
-    false, true, false, false, false, true, false)), (String ((Ascii (true,
-    false, true, false, false, true, true, false)), (String ((Ascii (true,
-    true, false, false, true, true, true, false)), (String ((Ascii (false,
-    false, true, false, true, true, true, false)), (String ((Ascii (true,
-    false, false, true, false, true, true, false)), (String ((Ascii (false,
-    true, true, true, false, true, true, false)), (String ((Ascii (true,
-    false, false, false, false, true, true, false)), (String ((Ascii (false,
-    false, true, false, true, true, true, false)), (String ((Ascii (true,
-    false, false, true, false, true, true, false)), (String ((Ascii (true,
-    true, true, true, false, true, true, false)), (String ((Ascii (false,
-    true, true, true, false, true, true, false)), (String ((Ascii (false,
-    true, true, true, false, false, true, false)), (String ((Ascii (true,
-    false, false, false, false, true, true, false)), (String ((Ascii (true,
-    false, true, true, false, true, true, false)), (String ((Ascii (true,
-    false, true, false, false, true, true, false)),
-    EmptyString)))))))))))))))))))))))))))))))))))))))))))))))), (S (S (S (S
-    (S (S (S (S (S (S (S (S (S (S (S (S (S (S (S (S (S (S (S
-    O))))))))))))))))))))))))) :: ((SAlpha ((String ((Ascii (true, false,
-    false, true, false, false, true, false)), (String ((Ascii (true, false,
-    true, true, false, true, true, false)), (String ((Ascii (true, false,
-    true, true, false, true, true, false)), (String ((Ascii (true, false,
-    true, false, false, true, true, false)), (String ((Ascii (false, false,
-    true, false, false, true, true, false)), (String ((Ascii (true, false,
-    false, true, false, true, true, false)), (String ((Ascii (true, false,
-    false, false, false, true, true, false)), (String ((Ascii (false, false,
-    true, false, true, true, true, false)), (String ((Ascii (true, false,
-    true, false, false, true, true, false)), (String ((Ascii (true, true,
-    true, true, false, false, true, false)), (String ((Ascii (false, true,
-    false, false, true, true, true, false)), (String ((Ascii (true, false,
-    false, true, false, true, true, false)), (String ((Ascii (true, true,
-    true, false, false, true, true, false)), (String ((Ascii (true, false,
-    false, true, false, true, true, false)), (String ((Ascii (false, true,
-    true, true, false, true, true, false)), (String ((Ascii (false, true,
-    true, true, false, false, true, false)), (String ((Ascii (true, false,
-    false, false, false, true, true, false)), (String ((Ascii (true, false,
-    true, true, false, true, true, false)), (String ((Ascii (true, false,
-    true, false, false, true, true, false)),
-    EmptyString)))))))))))))))))))))))))))))))))))))), (S (S (S (S (S (S (S
-    (S (S (S (S (S (S (S (S (S (S (S (S (S (S (S (S
-    O))))))))))))))))))))))))) :: ((SAlpha ((String ((Ascii (false, true,
-    false, false, true, false, true, false)), (String ((Ascii (true, false,
-    true, false, false, true, true, false)), (String ((Ascii (false, true,
-    true, false, false, true, true, false)), (String ((Ascii (true, false,
-    true, false, false, true, true, false)), (String ((Ascii (false, true,
-    false, false, true, true, true, false)), (String ((Ascii (true, false,
-    true, false, false, true, true, false)), (String ((Ascii (false, true,
-    true, true, false, true, true, false)), (String ((Ascii (true, true,
-    false, false, false, true, true, false)), (String ((Ascii (true, false,
-    true, false, false, true, true, false)), (String ((Ascii (true, true,
-    false, false, false, false, true, false)), (String ((Ascii (true, true,
-    true, true, false, true, true, false)), (String ((Ascii (false, false,
-    true, false, false, true, true, false)), (String ((Ascii (true, false,
-    true, false, false, true, true, false)),
-    EmptyString)))))))))))))))))))))))))), (S (S (S (S (S (S (S (S
-    O)))))))))) :: []))))))))))))); l_cuts =
-    ((mkconst (String ((Ascii (false, false, false, false, true, true, true,
-       false)), (String ((Ascii (false, true, false, false, true, true, true,
-       false)), (String ((Ascii (true, false, false, true, false, true, true,
-       false)), (String ((Ascii (true, true, true, true, false, true, true,
-       false)), (String ((Ascii (false, true, false, false, true, true, true,
-       false)), (String ((Ascii (true, false, false, true, false, true, true,
-       false)), (String ((Ascii (false, false, true, false, true, true, true,
-       false)), (String ((Ascii (true, false, false, true, true, true, true,
-       false)), (String ((Ascii (true, true, false, false, false, false,
-       true, false)), (String ((Ascii (true, true, true, true, false, true,
-       true, false)), (String ((Ascii (false, false, true, false, false,
-       true, true, false)), (String ((Ascii (true, false, true, false, false,
-       true, true, false)), EmptyString)))))))))))))))))))))))) ((Npos (XO
-       (XO (XO (XO (XI XH)))))) :: ((Npos (XI (XO (XO (XO (XI
-       XH)))))) :: []))) :: ((mkcut (S (S (S O))) (S (S (S (S (S (S (S (S (S
-                               (S (S (S (S O))))))))))))) (String ((Ascii
-                               (true, false, false, true, false, false, true,
-                               false)), (String ((Ascii (true, false, true,
-                               true, false, true, true, false)), (String
-                               ((Ascii (true, false, true, true, false, true,
-                               true, false)), (String ((Ascii (true, false,
-                               true, false, false, true, true, false)),
-                               (String ((Ascii (false, false, true, false,
-                               false, true, true, false)), (String ((Ascii
-                               (true, false, false, true, false, true, true,
-                               false)), (String ((Ascii (true, false, false,
-                               false, false, true, true, false)), (String
-                               ((Ascii (false, false, true, false, true,
-                               true, true, false)), (String ((Ascii (true,
-                               false, true, false, false, true, true,
-                               false)), (String ((Ascii (false, false, true,
-                               false, false, false, true, false)), (String
-                               ((Ascii (true, false, true, false, false,
-                               true, true, false)), (String ((Ascii (true,
-                               true, false, false, true, true, true, false)),
-                               (String ((Ascii (false, false, true, false,
-                               true, true, true, false)), (String ((Ascii
-                               (true, false, false, true, false, true, true,
-                               false)), (String ((Ascii (false, true, true,
-                               true, false, true, true, false)), (String
-                               ((Ascii (true, false, false, false, false,
-                               true, true, false)), (String ((Ascii (false,
-                               false, true, false, true, true, true, false)),
-                               (String ((Ascii (true, false, false, true,
-                               false, true, true, false)), (String ((Ascii
-                               (true, true, true, true, false, true, true,
-                               false)), (String ((Ascii (false, true, true,
-                               true, false, true, true, false)),
-                               EmptyString))))))))))))))))))))))))))))))))))))))))
-                               ((String ((Ascii (false, false, true, false,
-                               true, true, true, false)), (String ((Ascii
-                               (false, true, false, false, true, true, true,
-                               false)), (String ((Ascii (true, false, false,
-                               true, false, true, true, false)), (String
-                               ((Ascii (true, false, true, true, false, true,
-                               true, false)), (String ((Ascii (false, true,
-                               false, false, true, false, true, false)),
-                               (String ((Ascii (true, true, true, true,
-                               false, true, true, false)), (String ((Ascii
-                               (true, false, true, false, true, true, true,
-                               false)), (String ((Ascii (false, false, true,
-                               false, true, true, true, false)), (String
-                               ((Ascii (true, false, false, true, false,
-                               true, true, false)), (String ((Ascii (false,
-                               true, true, true, false, true, true, false)),
-                               (String ((Ascii (true, true, true, false,
-                               false, true, true, false)), (String ((Ascii
-                               (false, true, true, true, false, false, true,
-                               false)), (String ((Ascii (true, false, true,
-                               false, true, true, true, false)), (String
-                               ((Ascii (true, false, true, true, false, true,
-                               true, false)), (String ((Ascii (false, true,
-                               false, false, false, true, true, false)),
-                               (String ((Ascii (true, false, true, false,
-                               false, true, true, false)), (String ((Ascii
-                               (false, true, false, false, true, true, true,
-                               false)), (String ((Ascii (false, false, true,
-                               true, false, false, true, false)), (String
-                               ((Ascii (true, false, true, false, false,
-                               true, true, false)), (String ((Ascii (true,
-                               false, false, false, false, true, true,
-                               false)), (String ((Ascii (false, false, true,
-                               false, false, true, true, false)), (String
-                               ((Ascii (true, false, false, true, false,
-                               true, true, false)), (String ((Ascii (false,
-                               true, true, true, false, true, true, false)),
-                               (String ((Ascii (true, true, true, false,
-                               false, true, true, false)), (String ((Ascii
-                               (false, true, false, true, true, false, true,
-                               false)), (String ((Ascii (true, false, true,
-                               false, false, true, true, false)), (String
-                               ((Ascii (false, true, false, false, true,
-                               true, true, false)), (String ((Ascii (true,
-                               true, true, true, false, true, true, false)),
-                               EmptyString)))))))))))))))))))))))))))))))))))))))))))))))))))))))) :: ((String
-                               ((Ascii (false, false, false, false, true,
-                               true, true, false)), (String ((Ascii (true,
-                               false, false, false, false, true, true,
-                               false)), (String ((Ascii (false, true, false,
-                               false, true, true, true, false)), (String
-                               ((Ascii (true, true, false, false, true, true,
-                               true, false)), (String ((Ascii (true, false,
-                               true, false, false, true, true, false)),
-                               (String ((Ascii (true, true, false, false,
-                               true, false, true, false)), (String ((Ascii
-                               (false, false, true, false, true, true, true,
-                               false)), (String ((Ascii (false, true, false,
-                               false, true, true, true, false)), (String
-                               ((Ascii (true, false, false, true, false,
-                               true, true, false)), (String ((Ascii (false,
-                               true, true, true, false, true, true, false)),
-                               (String ((Ascii (true, true, true, false,
-                               false, true, true, false)), (String ((Ascii
-                               (false, true, true, false, false, false, true,
-                               false)), (String ((Ascii (true, false, false,
-                               true, false, true, true, false)), (String
-                               ((Ascii (true, false, true, false, false,
-                               true, true, false)), (String ((Ascii (false,
-                               false, true, true, false, true, true, false)),
-                               (String ((Ascii (false, false, true, false,
-                               false, true, true, false)),
-                               EmptyString)))))))))))))))))))))))))))))))) :: []))) :: (
-    (mkcut (S (S (S (S (S (S (S (S (S (S (S (S (S O))))))))))))) (S (S (S (S
-      (S (S (S (S (S (S (S (S (S (S (S (S (S (S (S (S (S (S (S
-      O))))))))))))))))))))))) (String ((Ascii (true, false, false, true,
-      false, false, true, false)), (String ((Ascii (true, false, true, true,
-      false, true, true, false)), (String ((Ascii (true, false, true, true,
-      false, true, true, false)), (String ((Ascii (true, false, true, false,
-      false, true, true, false)), (String ((Ascii (false, false, true, false,
-      false, true, true, false)), (String ((Ascii (true, false, false, true,
-      false, true, true, false)), (String ((Ascii (true, false, false, false,
-      false, true, true, false)), (String ((Ascii (false, false, true, false,
-      true, true, true, false)), (String ((Ascii (true, false, true, false,
-      false, true, true, false)), (String ((Ascii (true, true, true, true,
-      false, false, true, false)), (String ((Ascii (false, true, false,
-      false, true, true, true, false)), (String ((Ascii (true, false, false,
-      true, false, true, true, false)), (String ((Ascii (true, true, true,
-      false, false, true, true, false)), (String ((Ascii (true, false, false,
-      true, false, true, true, false)), (String ((Ascii (false, true, true,
-      true, false, true, true, false)),
-      EmptyString)))))))))))))))))))))))))))))) ((String ((Ascii (false,
-      false, true, false, true, true, true, false)), (String ((Ascii (false,
-      true, false, false, true, true, true, false)), (String ((Ascii (true,
-      false, false, true, false, true, true, false)), (String ((Ascii (true,
-      false, true, true, false, true, true, false)), (String ((Ascii (false,
-      true, false, false, true, false, true, false)), (String ((Ascii (true,
-      true, true, true, false, true, true, false)), (String ((Ascii (true,
-      false, true, false, true, true, true, false)), (String ((Ascii (false,
-      false, true, false, true, true, true, false)), (String ((Ascii (true,
-      false, false, true, false, true, true, false)), (String ((Ascii (false,
-      true, true, true, false, true, true, false)), (String ((Ascii (true,
-      true, true, false, false, true, true, false)), (String ((Ascii (false,
-      true, true, true, false, false, true, false)), (String ((Ascii (true,
-      false, true, false, true, true, true, false)), (String ((Ascii (true,
-      false, true, true, false, true, true, false)), (String ((Ascii (false,
-      true, false, false, false, true, true, false)), (String ((Ascii (true,
-      false, true, false, false, true, true, false)), (String ((Ascii (false,
-      true, false, false, true, true, true, false)), (String ((Ascii (false,
-      false, true, true, false, false, true, false)), (String ((Ascii (true,
-      false, true, false, false, true, true, false)), (String ((Ascii (true,
-      false, false, false, false, true, true, false)), (String ((Ascii
-      (false, false, true, false, false, true, true, false)), (String ((Ascii
-      (true, false, false, true, false, true, true, false)), (String ((Ascii
-      (false, true, true, true, false, true, true, false)), (String ((Ascii
-      (true, true, true, false, false, true, true, false)), (String ((Ascii
-      (false, true, false, true, true, false, true, false)), (String ((Ascii
-      (true, false, true, false, false, true, true, false)), (String ((Ascii
-      (false, true, false, false, true, true, true, false)), (String ((Ascii
-      (true, true, true, true, false, true, true, false)),
-      EmptyString)))))))))))))))))))))))))))))))))))))))))))))))))))))))) :: ((String
-      ((Ascii (false, false, false, false, true, true, true, false)), (String
-      ((Ascii (true, false, false, false, false, true, true, false)), (String
-      ((Ascii (false, true, false, false, true, true, true, false)), (String
-      ((Ascii (true, true, false, false, true, true, true, false)), (String
-      ((Ascii (true, false, true, false, false, true, true, false)), (String
-      ((Ascii (true, true, false, false, true, false, true, false)), (String
-      ((Ascii (false, false, true, false, true, true, true, false)), (String
-      ((Ascii (false, true, false, false, true, true, true, false)), (String
-      ((Ascii (true, false, false, true, false, true, true, false)), (String
-      ((Ascii (false, true, true, true, false, true, true, false)), (String
-      ((Ascii (true, true, true, false, false, true, true, false)), (String
-      ((Ascii (false, true, true, false, false, false, true, false)), (String
-      ((Ascii (true, false, false, true, false, true, true, false)), (String
-      ((Ascii (true, false, true, false, false, true, true, false)), (String
-      ((Ascii (false, false, true, true, false, true, true, false)), (String
-      ((Ascii (false, false, true, false, false, true, true, false)),
-      EmptyString)))))))))))))))))))))))))))))))) :: []))) :: ((mkcut (S (S
-                                                                 (S (S (S (S
-                                                                 (S (S (S (S
-                                                                 (S (S (S (S
-                                                                 (S (S (S (S
-                                                                 (S (S (S (S
-                                                                 (S
-                                                                 O)))))))))))))))))))))))
-                                                                 (S (S (S (S
-                                                                 (S (S (S (S
-                                                                 (S (S (S (S
-                                                                 (S (S (S (S
-                                                                 (S (S (S (S
-                                                                 (S (S (S (S
-                                                                 (S (S (S (S
-                                                                 (S
-                                                                 O)))))))))))))))))))))))))))))
-                                                                 (String
-                                                                 ((Ascii
-                                                                 (false,
-                                                                 true, true,
-                                                                 false,
-                                                                 false,
-                                                                 false, true,
-                                                                 false)),
-                                                                 (String
-                                                                 ((Ascii
-                                                                 (true,
-                                                                 false,
-                                                                 false, true,
-                                                                 false, true,
-                                                                 true,
-                                                                 false)),
-                                                                 (String
-                                                                 ((Ascii
-                                                                 (false,
-                                                                 false, true,
-                                                                 true, false,
-                                                                 true, true,
-                                                                 false)),
-                                                                 (String
-                                                                 ((Ascii
-                                                                 (true,
-                                                                 false, true,
-                                                                 false,
-                                                                 false, true,
-                                                                 true,
-                                                                 false)),
-                                                                 (String
-                                                                 ((Ascii
-                                                                 (true, true,
-                                                                 false,
-                                                                 false,
-                                                                 false,
-                                                                 false, true,
-                                                                 false)),
-                                                                 (String
-                                                                 ((Ascii
-                                                                 (false,
-                                                                 true, false,
-                                                                 false, true,
-                                                                 true, true,
-                                                                 false)),
-                                                                 (String
-                                                                 ((Ascii
-                                                                 (true,
-                                                                 false, true,
-                                                                 false,
-                                                                 false, true,
-                                                                 true,
-                                                                 false)),
-                                                                 (String
-                                                                 ((Ascii
-                                                                 (true,
-                                                                 false,
-                                                                 false,
-                                                                 false,
-                                                                 false, true,
-                                                                 true,
-                                                                 false)),
-                                                                 (String
-                                                                 ((Ascii
-                                                                 (false,
-                                                                 false, true,
-                                                                 false, true,
-                                                                 true, true,
-                                                                 false)),
-                                                                 (String
-                                                                 ((Ascii
-                                                                 (true,
-                                                                 false,
-                                                                 false, true,
-                                                                 false, true,
-                                                                 true,
-                                                                 false)),
-                                                                 (String
-                                                                 ((Ascii
-                                                                 (true, true,
-                                                                 true, true,
-                                                                 false, true,
-                                                                 true,
-                                                                 false)),
-                                                                 (String
-                                                                 ((Ascii
-                                                                 (false,
-                                                                 true, true,
-                                                                 true, false,
-                                                                 true, true,
-                                                                 false)),
-                                                                 (String
-                                                                 ((Ascii
-                                                                 (false,
-                                                                 false, true,
-                                                                 false,
-                                                                 false,
-                                                                 false, true,
-                                                                 false)),
-                                                                 (String
-                                                                 ((Ascii
-                                                                 (true,
-                                                                 false,
-                                                                 false,
-                                                                 false,
-                                                                 false, true,
-                                                                 true,
-                                                                 false)),
-                                                                 (String
-                                                                 ((Ascii
-                                                                 (false,
-                                                                 false, true,
-                                                                 false, true,
-                                                                 true, true,
-                                                                 false)),
-                                                                 (String
-                                                                 ((Ascii
-                                                                 (true,
-                                                                 false, true,
-                                                                 false,
-                                                                 false, true,
-                                                                 true,
-                                                                 false)),
-                                                                 EmptyString))))))))))))))))))))))))))))))))
-                                                                 ((String
-                                                                 ((Ascii
-                                                                 (false,
-                                                                 true, true,
-                                                                 false, true,
-                                                                 true, true,
-                                                                 false)),
-                                                                 (String
-                                                                 ((Ascii
-                                                                 (true,
-                                                                 false,
-                                                                 false,
-                                                                 false,
-                                                                 false, true,
-                                                                 true,
-                                                                 false)),
-                                                                 (String
-                                                                 ((Ascii
-                                                                 (false,
-                                                                 false, true,
-                                                                 true, false,
-                                                                 true, true,
-                                                                 false)),
-                                                                 (String
-                                                                 ((Ascii
-                                                                 (true,
-                                                                 false,
-                                                                 false, true,
-                                                                 false, true,
-                                                                 true,
-                                                                 false)),
-                                                                 (String
-                                                                 ((Ascii
-                                                                 (false,
-                                                                 false, true,
-                                                                 false,
-                                                                 false, true,
-                                                                 true,
-                                                                 false)),
-                                                                 (String
-                                                                 ((Ascii
-                                                                 (true,
-                                                                 false,
-                                                                 false,
-                                                                 false,
-                                                                 false, true,
-                                                                 true,
-                                                                 false)),
-                                                                 (String
-                                                                 ((Ascii
-                                                                 (false,
-                                                                 false, true,
-                                                                 false, true,
-                                                                 true, true,
-                                                                 false)),
-                                                                 (String
-                                                                 ((Ascii
-                                                                 (true,
-                                                                 false, true,
-                                                                 false,
-                                                                 false, true,
-                                                                 true,
-                                                                 false)),
-                                                                 (String
-                                                                 ((Ascii
-                                                                 (true, true,
-                                                                 false,
-                                                                 false, true,
-                                                                 false, true,
-                                                                 false)),
-                                                                 (String
-                                                                 ((Ascii
-                                                                 (true,
-                                                                 false,
-                                                                 false, true,
-                                                                 false, true,
-                                                                 true,
-                                                                 false)),
-                                                                 (String
-                                                                 ((Ascii
-                                                                 (true,
-                                                                 false, true,
-                                                                 true, false,
-                                                                 true, true,
-                                                                 false)),
-                                                                 (String
-                                                                 ((Ascii
-                                                                 (false,
-                                                                 false,
-                                                                 false,
-                                                                 false, true,
-                                                                 true, true,
-                                                                 false)),
-                                                                 (String
-                                                                 ((Ascii
-                                                                 (false,
-                                                                 false, true,
-                                                                 true, false,
-                                                                 true, true,
-                                                                 false)),
-                                                                 (String
-                                                                 ((Ascii
-                                                                 (true,
-                                                                 false, true,
-                                                                 false,
-                                                                 false, true,
-                                                                 true,
-                                                                 false)),
-                                                                 (String
-                                                                 ((Ascii
-                                                                 (false,
-                                                                 false, true,
-                                                                 false,
-                                                                 false,
-                                                                 false, true,
-                                                                 false)),
-                                                                 (String
-                                                                 ((Ascii
-                                                                 (true,
-                                                                 false,
-                                                                 false,
-                                                                 false,
-                                                                 false, true,
-                                                                 true,
-                                                                 false)),
-                                                                 (String
-                                                                 ((Ascii
-                                                                 (false,
-                                                                 false, true,
-                                                                 false, true,
-                                                                 true, true,
-                                                                 false)),
-                                                                 (String
-                                                                 ((Ascii
-                                                                 (true,
-                                                                 false, true,
-                                                                 false,
-                                                                 false, true,
-                                                                 true,
-                                                                 false)),
-                                                                 EmptyString)))))))))))))))))))))))))))))))))))) :: [])) :: (
-    (mkcut (S (S (S (S (S (S (S (S (S (S (S (S (S (S (S (S (S (S (S (S (S (S
-      (S (S (S (S (S (S (S O))))))))))))))))))))))))))))) (S (S (S (S (S (S
-      (S (S (S (S (S (S (S (S (S (S (S (S (S (S (S (S (S (S (S (S (S (S (S (S
-      (S (S (S O))))))))))))))))))))))))))))))))) (String ((Ascii (false,
-      true, true, false, false, false, true, false)), (String ((Ascii (true,
-      false, false, true, false, true, true, false)), (String ((Ascii (false,
-      false, true, true, false, true, true, false)), (String ((Ascii (true,
-      false, true, false, false, true, true, false)), (String ((Ascii (true,
-      true, false, false, false, false, true, false)), (String ((Ascii
-      (false, true, false, false, true, true, true, false)), (String ((Ascii
-      (true, false, true, false, false, true, true, false)), (String ((Ascii
-      (true, false, false, false, false, true, true, false)), (String ((Ascii
-      (false, false, true, false, true, true, true, false)), (String ((Ascii
-      (true, false, false, true, false, true, true, false)), (String ((Ascii
-      (true, true, true, true, false, true, true, false)), (String ((Ascii
-      (false, true, true, true, false, true, true, false)), (String ((Ascii
-      (false, false, true, false, true, false, true, false)), (String ((Ascii
-      (true, false, false, true, false, true, true, false)), (String ((Ascii
-      (true, false, true, true, false, true, true, false)), (String ((Ascii
-      (true, false, true, false, false, true, true, false)),
-      EmptyString)))))))))))))))))))))))))))))))) ((String ((Ascii (false,
-      true, true, false, true, true, true, false)), (String ((Ascii (true,
-      false, false, false, false, true, true, false)), (String ((Ascii
-      (false, false, true, true, false, true, true, false)), (String ((Ascii
-      (true, false, false, true, false, true, true, false)), (String ((Ascii
-      (false, false, true, false, false, true, true, false)), (String ((Ascii
-      (true, false, false, false, false, true, true, false)), (String ((Ascii
-      (false, false, true, false, true, true, true, false)), (String ((Ascii
-      (true, false, true, false, false, true, true, false)), (String ((Ascii
-      (true, true, false, false, true, false, true, false)), (String ((Ascii
-      (true, false, false, true, false, true, true, false)), (String ((Ascii
-      (true, false, true, true, false, true, true, false)), (String ((Ascii
-      (false, false, false, false, true, true, true, false)), (String ((Ascii
-      (false, false, true, true, false, true, true, false)), (String ((Ascii
-      (true, false, true, false, false, true, true, false)), (String ((Ascii
-      (false, false, true, false, true, false, true, false)), (String ((Ascii
-      (true, false, false, true, false, true, true, false)), (String ((Ascii
-      (true, false, true, true, false, true, true, false)), (String ((Ascii
-      (true, false, true, false, false, true, true, false)),
-      EmptyString)))))))))))))))))))))))))))))))))))) :: [])) :: ((mkcut (S
-                                                                    (S (S (S
-                                                                    (S (S (S
-                                                                    (S (S (S
-                                                                    (S (S (S
-                                                                    (S (S (S
-                                                                    (S (S (S
-                                                                    (S (S (S
-                                                                    (S (S (S
-                                                                    (S (S (S
-                                                                    (S (S (S
-                                                                    (S (S
-                                                                    O)))))))))))))))))))))))))))))))))
-                                                                    (S (S (S
-                                                                    (S (S (S
-                                                                    (S (S (S
-                                                                    (S (S (S
-                                                                    (S (S (S
-                                                                    (S (S (S
-                                                                    (S (S (S
-                                                                    (S (S (S
-                                                                    (S (S (S
-                                                                    (S (S (S
-                                                                    (S (S (S
-                                                                    (S
-                                                                    O))))))))))))))))))))))))))))))))))
-                                                                    (String
-                                                                    ((Ascii
-                                                                    (false,
-                                                                    true,
-                                                                    true,
-                                                                    false,
-                                                                    false,
-                                                                    false,
-                                                                    true,
-                                                                    false)),
-                                                                    (String
-                                                                    ((Ascii
-                                                                    (true,
-                                                                    false,
-                                                                    false,
-                                                                    true,
-                                                                    false,
-                                                                    true,
-                                                                    true,
-                                                                    false)),
-                                                                    (String
-                                                                    ((Ascii
-                                                                    (false,
-                                                                    false,
-                                                                    true,
-                                                                    true,
-                                                                    false,
-                                                                    true,
-                                                                    true,
-                                                                    false)),
-                                                                    (String
-                                                                    ((Ascii
-                                                                    (true,
-                                                                    false,
-                                                                    true,
-                                                                    false,
-                                                                    false,
-                                                                    true,
-                                                                    true,
-                                                                    false)),
-                                                                    (String
-                                                                    ((Ascii
-                                                                    (true,
-                                                                    false,
-                                                                    false,
-                                                                    true,
-                                                                    false,
-                                                                    false,
-                                                                    true,
-                                                                    false)),
-                                                                    (String
-                                                                    ((Ascii
-                                                                    (false,
-                                                                    false,
-                                                                    true,
-                                                                    false,
-                                                                    false,
-                                                                    false,
-                                                                    true,
-                                                                    false)),
-                                                                    (String
-                                                                    ((Ascii
-                                                                    (true,
-                                                                    false,
-                                                                    true,
-                                                                    true,
-                                                                    false,
-                                                                    false,
-                                                                    true,
-                                                                    false)),
-                                                                    (String
-                                                                    ((Ascii
-                                                                    (true,
-                                                                    true,
-                                                                    true,
-                                                                    true,
-                                                                    false,
-                                                                    true,
-                                                                    true,
-                                                                    false)),
-                                                                    (String
-                                                                    ((Ascii
-                                                                    (false,
-                                                                    false,
-                                                                    true,
-                                                                    false,
-                                                                    false,
-                                                                    true,
-                                                                    true,
-                                                                    false)),
-                                                                    (String
-                                                                    ((Ascii
-                                                                    (true,
-                                                                    false,
-                                                                    false,
-                                                                    true,
-                                                                    false,
-                                                                    true,
-                                                                    true,
-                                                                    false)),
-                                                                    (String
-                                                                    ((Ascii
-                                                                    (false,
-                                                                    true,
-                                                                    true,
-                                                                    false,
-                                                                    false,
-                                                                    true,
-                                                                    true,
-                                                                    false)),
-                                                                    (String
-                                                                    ((Ascii
-                                                                    (true,
-                                                                    false,
-                                                                    false,
-                                                                    true,
-                                                                    false,
-                                                                    true,
-                                                                    true,
-                                                                    false)),
-                                                                    (String
-                                                                    ((Ascii
-                                                                    (true,
-                                                                    false,
-                                                                    true,
-                                                                    false,
-                                                                    false,
-                                                                    true,
-                                                                    true,
-                                                                    false)),
-                                                                    (String
-                                                                    ((Ascii
-                                                                    (false,
-                                                                    true,
-                                                                    false,
-                                                                    false,
-                                                                    true,
-                                                                    true,
-                                                                    true,
-                                                                    false)),
-                                                                    EmptyString))))))))))))))))))))))))))))
-                                                                    []) :: (
-    (mkconst (String ((Ascii (false, true, false, false, true, true, true,
-      false)), (String ((Ascii (true, false, true, false, false, true, true,
-      false)), (String ((Ascii (true, true, false, false, false, true, true,
-      false)), (String ((Ascii (true, true, true, true, false, true, true,
-      false)), (String ((Ascii (false, true, false, false, true, true, true,
-      false)), (String ((Ascii (false, false, true, false, false, true, true,
-      false)), (String ((Ascii (true, true, false, false, true, false, true,
-      false)), (String ((Ascii (true, false, false, true, false, true, true,
-      false)), (String ((Ascii (false, true, false, true, true, true, true,
-      false)), (String ((Ascii (true, false, true, false, false, true, true,
-      false)), EmptyString)))))))))))))))))))) ((Npos (XO (XO (XO (XO (XI
-      XH)))))) :: ((Npos (XI (XO (XO (XI (XI XH)))))) :: ((Npos (XO (XO (XI
-      (XO (XI XH)))))) :: [])))) :: ((mkconst (String ((Ascii (false, true,
-                                       false, false, false, true, true,
-                                       false)), (String ((Ascii (false,
-                                       false, true, true, false, true, true,
-                                       false)), (String ((Ascii (true, true,
-                                       true, true, false, true, true,
-                                       false)), (String ((Ascii (true, true,
-                                       false, false, false, true, true,
-                                       false)), (String ((Ascii (true, true,
-                                       false, true, false, true, true,
-                                       false)), (String ((Ascii (true, false,
-                                       false, true, false, true, true,
-                                       false)), (String ((Ascii (false, true,
-                                       true, true, false, true, true,
-                                       false)), (String ((Ascii (true, true,
-                                       true, false, false, true, true,
-                                       false)), (String ((Ascii (false, true,
-                                       true, false, false, false, true,
-                                       false)), (String ((Ascii (true, false,
-                                       false, false, false, true, true,
-                                       false)), (String ((Ascii (true, true,
-                                       false, false, false, true, true,
-                                       false)), (String ((Ascii (false,
-                                       false, true, false, true, true, true,
-                                       false)), (String ((Ascii (true, true,
-                                       true, true, false, true, true,
-                                       false)), (String ((Ascii (false, true,
-                                       false, false, true, true, true,
-                                       false)),
-                                       EmptyString))))))))))))))))))))))))))))
-                                       ((Npos (XI (XO (XO (XO (XI
-                                       XH)))))) :: ((Npos (XO (XO (XO (XO (XI
-                                       XH)))))) :: []))) :: ((mkconst (String
-                                                               ((Ascii
-                                                               (false, true,
-                                                               true, false,
-                                                               false, true,
-                                                               true, false)),
-                                                               (String
-                                                               ((Ascii (true,
-                                                               true, true,
-                                                               true, false,
-                                                               true, true,
-                                                               false)),
-                                                               (String
-                                                               ((Ascii
-                                                               (false, true,
-                                                               false, false,
-                                                               true, true,
-                                                               true, false)),
-                                                               (String
-                                                               ((Ascii (true,
-                                                               false, true,
-                                                               true, false,
-                                                               true, true,
-                                                               false)),
-                                                               (String
-                                                               ((Ascii (true,
-                                                               false, false,
-                                                               false, false,
-                                                               true, true,
-                                                               false)),
-                                                               (String
-                                                               ((Ascii
-                                                               (false, false,
-                                                               true, false,
-                                                               true, true,
-                                                               true, false)),
-                                                               (String
-                                                               ((Ascii (true,
-                                                               true, false,
-                                                               false, false,
-                                                               false, true,
-                                                               false)),
-                                                               (String
-                                                               ((Ascii (true,
-                                                               true, true,
-                                                               true, false,
-                                                               true, true,
-                                                               false)),
-                                                               (String
-                                                               ((Ascii
-                                                               (false, false,
-                                                               true, false,
-                                                               false, true,
-                                                               true, false)),
-                                                               (String
-                                                               ((Ascii (true,
-                                                               false, true,
-                                                               false, false,
-                                                               true, true,
-                                                               false)),
-                                                               EmptyString))))))))))))))))))))
-                                                               ((Npos (XI (XO
-                                                               (XO (XO (XI
-                                                               XH)))))) :: [])) :: (
-    (mkcut (S (S (S (S (S (S (S (S (S (S (S (S (S (S (S (S (S (S (S (S (S (S
-      (S (S (S (S (S (S (S (S (S (S (S (S (S (S (S (S (S (S
-      O)))))))))))))))))))))))))))))))))))))))) (S (S (S (S (S (S (S (S (S (S
-      (S (S (S (S (S (S (S (S (S (S (S (S (S (S (S (S (S (S (S (S (S (S (S (S
-      (S (S (S (S (S (S (S (S (S (S (S (S (S (S (S (S (S (S (S (S (S (S (S (S
-      (S (S (S (S (S
-      O)))))))))))))))))))))))))))))))))))))))))))))))))))))))))))))))
-      (String ((Ascii (true, false, false, true, false, false, true, false)),
-      (String ((Ascii (true, false, true, true, false, true, true, false)),
-      (String ((Ascii (true, false, true, true, false, true, true, false)),
-      (String ((Ascii (true, false, true, false, false, true, true, false)),
-      (String ((Ascii (false, false, true, false, false, true, true, false)),
-      (String ((Ascii (true, false, false, true, false, true, true, false)),
-      (String ((Ascii (true, false, false, false, false, true, true, false)),
-      (String ((Ascii (false, false, true, false, true, true, true, false)),
-      (String ((Ascii (true, false, true, false, false, true, true, false)),
-      (String ((Ascii (false, false, true, false, false, false, true,
-      false)), (String ((Ascii (true, false, true, false, false, true, true,
-      false)), (String ((Ascii (true, true, false, false, true, true, true,
-      false)), (String ((Ascii (false, false, true, false, true, true, true,
-      false)), (String ((Ascii (true, false, false, true, false, true, true,
-      false)), (String ((Ascii (false, true, true, true, false, true, true,
-      false)), (String ((Ascii (true, false, false, false, false, true, true,
-      false)), (String ((Ascii (false, false, true, false, true, true, true,
-      false)), (String ((Ascii (true, false, false, true, false, true, true,
-      false)), (String ((Ascii (true, true, true, true, false, true, true,
-      false)), (String ((Ascii (false, true, true, true, false, true, true,
-      false)), (String ((Ascii (false, true, true, true, false, false, true,
-      false)), (String ((Ascii (true, false, false, false, false, true, true,
-      false)), (String ((Ascii (true, false, true, true, false, true, true,
-      false)), (String ((Ascii (true, false, true, false, false, true, true,
-      false)), EmptyString))))))))))))))))))))))))))))))))))))))))))))))))
-      ((String ((Ascii (false, false, false, false, true, true, true,
-      false)), (String ((Ascii (true, false, false, false, false, true, true,
-      false)), (String ((Ascii (false, true, false, false, true, true, true,
-      false)), (String ((Ascii (true, true, false, false, true, true, true,
-      false)), (String ((Ascii (true, false, true, false, false, true, true,
-      false)), (String ((Ascii (true, true, false, false, true, false, true,
-      false)), (String ((Ascii (false, false, true, false, true, true, true,
-      false)), (String ((Ascii (false, true, false, false, true, true, true,
-      false)), (String ((Ascii (true, false, false, true, false, true, true,
-      false)), (String ((Ascii (false, true, true, true, false, true, true,
-      false)), (String ((Ascii (true, true, true, false, false, true, true,
-      false)), (String ((Ascii (false, true, true, false, false, false, true,
-      false)), (String ((Ascii (true, false, false, true, false, true, true,
-      false)), (String ((Ascii (true, false, true, false, false, true, true,
-      false)), (String ((Ascii (false, false, true, true, false, true, true,
-      false)), (String ((Ascii (false, false, true, false, false, true, true,
-      false)), (String ((Ascii (true, true, true, false, true, false, true,
-      false)), (String ((Ascii (true, false, false, true, false, true, true,
-      false)), (String ((Ascii (false, false, true, false, true, true, true,
-      false)), (String ((Ascii (false, false, false, true, false, true, true,
-      false)), (String ((Ascii (true, true, true, true, false, false, true,
-      false)), (String ((Ascii (false, false, false, false, true, true, true,
-      false)), (String ((Ascii (false, false, true, false, true, true, true,
-      false)), (String ((Ascii (true, true, false, false, true, true, true,
-      false)),
-      EmptyString)))))))))))))))))))))))))))))))))))))))))))))))) :: [])) :: (
-    (mkcut (S (S (S (S (S (S (S (S (S (S (S (S (S (S (S (S (S (S (S (S (S (S
-      (S (S (S (S (S (S (S (S (S (S (S (S (S (S (S (S (S (S (S (S (S (S (S (S
-      (S (S (S (S (S (S (S (S (S (S (S (S (S (S (S (S (S
-      O))))))))))))))))))))))))))))))))))))))))))))))))))))))))))))))) (S (S
-      (S (S (S (S (S (S (S (S (S (S (S (S (S (S (S (S (S (S (S (S (S (S (S (S
-      (S (S (S (S (S (S (S (S (S (S (S (S (S (S (S (S (S (S (S (S (S (S (S (S
-      (S (S (S (S (S (S (S (S (S (S (S (S (S (S (S (S (S (S (S (S (S (S (S (S
-      (S (S (S (S (S (S (S (S (S (S (S (S
-      O))))))))))))))))))))))))))))))))))))))))))))))))))))))))))))))))))))))))))))))))))))))
-      (String ((Ascii (true, false, false, true, false, false, true, false)),
-      (String ((Ascii (true, false, true, true, false, true, true, false)),
-      (String ((Ascii (true, false, true, true, false, true, true, false)),
-      (String ((Ascii (true, false, true, false, false, true, true, false)),
-      (String ((Ascii (false, false, true, false, false, true, true, false)),
-      (String ((Ascii (true, false, false, true, false, true, true, false)),
-      (String ((Ascii (true, false, false, false, false, true, true, false)),
-      (String ((Ascii (false, false, true, false, true, true, true, false)),
-      (String ((Ascii (true, false, true, false, false, true, true, false)),
-      (String ((Ascii (true, true, true, true, false, false, true, false)),
-      (String ((Ascii (false, true, false, false, true, true, true, false)),
-      (String ((Ascii (true, false, false, true, false, true, true, false)),
-      (String ((Ascii (true, true, true, false, false, true, true, false)),
-      (String ((Ascii (true, false, false, true, false, true, true, false)),
-      (String ((Ascii (false, true, true, true, false, true, true, false)),
-      (String ((Ascii (false, true, true, true, false, false, true, false)),
-      (String ((Ascii (true, false, false, false, false, true, true, false)),
-      (String ((Ascii (true, false, true, true, false, true, true, false)),
-      (String ((Ascii (true, false, true, false, false, true, true, false)),
-      EmptyString)))))))))))))))))))))))))))))))))))))) ((String ((Ascii
-      (false, false, false, false, true, true, true, false)), (String ((Ascii
-      (true, false, false, false, false, true, true, false)), (String ((Ascii
-      (false, true, false, false, true, true, true, false)), (String ((Ascii
-      (true, true, false, false, true, true, true, false)), (String ((Ascii
-      (true, false, true, false, false, true, true, false)), (String ((Ascii
-      (true, true, false, false, true, false, true, false)), (String ((Ascii
-      (false, false, true, false, true, true, true, false)), (String ((Ascii
-      (false, true, false, false, true, true, true, false)), (String ((Ascii
-      (true, false, false, true, false, true, true, false)), (String ((Ascii
-      (false, true, true, true, false, true, true, false)), (String ((Ascii
-      (true, true, true, false, false, true, true, false)), (String ((Ascii
-      (false, true, true, false, false, false, true, false)), (String ((Ascii
-      (true, false, false, true, false, true, true, false)), (String ((Ascii
-      (true, false, true, false, false, true, true, false)), (String ((Ascii
-      (false, false, true, true, false, true, true, false)), (String ((Ascii
-      (false, false, true, false, false, true, true, false)), (String ((Ascii
-      (true, true, true, false, true, false, true, false)), (String ((Ascii
-      (true, false, false, true, false, true, true, false)), (String ((Ascii
-      (false, false, true, false, true, true, true, false)), (String ((Ascii
-      (false, false, false, true, false, true, true, false)), (String ((Ascii
-      (true, true, true, true, false, false, true, false)), (String ((Ascii
-      (false, false, false, false, true, true, true, false)), (String ((Ascii
-      (false, false, true, false, true, true, true, false)), (String ((Ascii
-      (true, true, false, false, true, true, true, false)),
-      EmptyString)))))))))))))))))))))))))))))))))))))))))))))))) :: [])) :: (
-    (mkcut (S (S (S (S (S (S (S (S (S (S (S (S (S (S (S (S (S (S (S (S (S (S
-      (S (S (S (S (S (S (S (S (S (S (S (S (S (S (S (S (S (S (S (S (S (S (S (S
-      (S (S (S (S (S (S (S (S (S (S (S (S (S (S (S (S (S (S (S (S (S (S (S (S
-      (S (S (S (S (S (S (S (S (S (S (S (S (S (S (S (S
-      O))))))))))))))))))))))))))))))))))))))))))))))))))))))))))))))))))))))))))))))))))))))
-      (S (S (S (S (S (S (S (S (S (S (S (S (S (S (S (S (S (S (S (S (S (S (S (S
-      (S (S (S (S (S (S (S (S (S (S (S (S (S (S (S (S (S (S (S (S (S (S (S (S
-      (S (S (S (S (S (S (S (S (S (S (S (S (S (S (S (S (S (S (S (S (S (S (S (S
-      (S (S (S (S (S (S (S (S (S (S (S (S (S (S (S (S (S (S (S (S (S (S
-      O))))))))))))))))))))))))))))))))))))))))))))))))))))))))))))))))))))))))))))))))))))))))))))))
-      (String ((Ascii (false, true, false, false, true, false, true, false)),
-      (String ((Ascii (true, false, true, false, false, true, true, false)),
-      (String ((Ascii (false, true, true, false, false, true, true, false)),
-      (String ((Ascii (true, false, true, false, false, true, true, false)),
-      (String ((Ascii (false, true, false, false, true, true, true, false)),
-      (String ((Ascii (true, false, true, false, false, true, true, false)),
-      (String ((Ascii (false, true, true, true, false, true, true, false)),
-      (String ((Ascii (true, true, false, false, false, true, true, false)),
-      (String ((Ascii (true, false, true, false, false, true, true, false)),
-      (String ((Ascii (true, true, false, false, false, false, true, false)),
-      (String ((Ascii (true, true, true, true, false, true, true, false)),
-      (String ((Ascii (false, false, true, false, false, true, true, false)),
-      (String ((Ascii (true, false, true, false, false, true, true, false)),
-      EmptyString)))))))))))))))))))))))))) ((String ((Ascii (false, false,
-      false, false, true, true, true, false)), (String ((Ascii (true, false,
-      false, false, false, true, true, false)), (String ((Ascii (false, true,
-      false, false, true, true, true, false)), (String ((Ascii (true, true,
-      false, false, true, true, true, false)), (String ((Ascii (true, false,
-      true, false, false, true, true, false)), (String ((Ascii (true, true,
-      false, false, true, false, true, false)), (String ((Ascii (false,
-      false, true, false, true, true, true, false)), (String ((Ascii (false,
-      true, false, false, true, true, true, false)), (String ((Ascii (true,
-      false, false, true, false, true, true, false)), (String ((Ascii (false,
-      true, true, true, false, true, true, false)), (String ((Ascii (true,
-      true, true, false, false, true, true, false)), (String ((Ascii (false,
-      true, true, false, false, false, true, false)), (String ((Ascii (true,
-      false, false, true, false, true, true, false)), (String ((Ascii (true,
-      false, true, false, false, true, true, false)), (String ((Ascii (false,
-      false, true, true, false, true, true, false)), (String ((Ascii (false,
-      false, true, false, false, true, true, false)), (String ((Ascii (true,
-      true, true, false, true, false, true, false)), (String ((Ascii (true,
-      false, false, true, false, true, true, false)), (String ((Ascii (false,
-      false, true, false, true, true, true, false)), (String ((Ascii (false,
-      false, false, true, false, true, true, false)), (String ((Ascii (true,
-      true, true, true, false, false, true, false)), (String ((Ascii (false,
-      false, false, false, true, true, true, false)), (String ((Ascii (false,
-      false, true, false, true, true, true, false)), (String ((Ascii (true,
-      true, false, false, true, true, true, false)),
-      EmptyString)))))))))))))))))))))))))))))))))))))))))))))))) :: [])) :: [])))))))))))) }
-
-(** val l_IATBatchHeader : layout **)
-
-let l_IATBatchHeader =
-  { l_name = (String ((Ascii (true, false, false, true, false, false, true,
-    false)), (String ((Ascii (true, false, false, false, false, false, true,
-    false)), (String ((Ascii (false, false, true, false, true, false, true,
-    false)), (String ((Ascii (false, true, false, false, false, false, true,
-    false)), (String ((Ascii (true, false, false, false, false, true, true,
-    false)), (String ((Ascii (false, false, true, false, true, true, true,
-    false)), (String ((Ascii (true, true, false, false, false, true, true,
-    false)), (String ((Ascii (false, false, false, true, false, true, true,
-    false)), (String ((Ascii (false, false, false, true, false, false, true,
-    false)), (String ((Ascii (true, false, true, false, false, true, true,
-    false)), (String ((Ascii (true, false, false, false, false, true, true,
-    false)), (String ((Ascii (false, false, true, false, false, true, true,
-    false)), (String ((Ascii (true, false, true, false, false, true, true,
-    false)), (String ((Ascii (false, true, false, false, true, true, true,
-    false)), EmptyString)))))))))))))))))))))))))))); l_ix = IRune; l_segs =
-    ((SLit ((Npos (XI (XO (XI (XO (XI XH)))))) :: [])) :: ((SItoa (String
-    ((Ascii (true, true, false, false, true, false, true, false)), (String
-    ((Ascii (true, false, true, false, false, true, true, false)), (String
-    ((Ascii (false, true, false, false, true, true, true, false)), (String
-    ((Ascii (false, true, true, false, true, true, true, false)), (String
-    ((Ascii (true, false, false, true, false, true, true, false)), (String
-    ((Ascii (true, true, false, false, false, true, true, false)), (String
-    ((Ascii (true, false, true, false, false, true, true, false)), (String
-    ((Ascii (true, true, false, false, false, false, true, false)), (String
-    ((Ascii (false, false, true, true, false, true, true, false)), (String
-    ((Ascii (true, false, false, false, false, true, true, false)), (String
-    ((Ascii (true, true, false, false, true, true, true, false)), (String
-    ((Ascii (true, true, false, false, true, true, true, false)), (String
-    ((Ascii (true, true, false, false, false, false, true, false)), (String
-    ((Ascii (true, true, true, true, false, true, true, false)), (String
-    ((Ascii (false, false, true, false, false, true, true, false)), (String
-    ((Ascii (true, false, true, false, false, true, true, false)),
-    EmptyString))))))))))))))))))))))))))))))))) :: ((SAlpha ((String ((Ascii
-    (true, false, false, true, false, false, true, false)), (String ((Ascii
-    (true, false, false, false, false, false, true, false)), (String ((Ascii
-    (false, false, true, false, true, false, true, false)), (String ((Ascii
-    (true, false, false, true, false, false, true, false)), (String ((Ascii
-    (false, true, true, true, false, true, true, false)), (String ((Ascii
-    (false, false, true, false, false, true, true, false)), (String ((Ascii
-    (true, false, false, true, false, true, true, false)), (String ((Ascii
-    (true, true, false, false, false, true, true, false)), (String ((Ascii
-    (true, false, false, false, false, true, true, false)), (String ((Ascii
-    (false, false, true, false, true, true, true, false)), (String ((Ascii
-    (true, true, true, true, false, true, true, false)), (String ((Ascii
-    (false, true, false, false, true, true, true, false)),
-    EmptyString)))))))))))))))))))))))), (S (S (S (S (S (S (S (S (S (S (S (S
-    (S (S (S (S O)))))))))))))))))) :: ((SAlpha ((String ((Ascii (false,
-    true, true, false, false, false, true, false)), (String ((Ascii (true,
-    true, true, true, false, true, true, false)), (String ((Ascii (false,
-    true, false, false, true, true, true, false)), (String ((Ascii (true,
-    false, true, false, false, true, true, false)), (String ((Ascii (true,
-    false, false, true, false, true, true, false)), (String ((Ascii (true,
-    true, true, false, false, true, true, false)), (String ((Ascii (false,
-    true, true, true, false, true, true, false)), (String ((Ascii (true,
-    false, true, false, false, false, true, false)), (String ((Ascii (false,
-    false, false, true, true, true, true, false)), (String ((Ascii (true,
-    true, false, false, false, true, true, false)), (String ((Ascii (false,
-    false, false, true, false, true, true, false)), (String ((Ascii (true,
-    false, false, false, false, true, true, false)), (String ((Ascii (false,
-    true, true, true, false, true, true, false)), (String ((Ascii (true,
-    true, true, false, false, true, true, false)), (String ((Ascii (true,
-    false, true, false, false, true, true, false)), (String ((Ascii (true,
-    false, false, true, false, false, true, false)), (String ((Ascii (false,
-    true, true, true, false, true, true, false)), (String ((Ascii (false,
-    false, true, false, false, true, true, false)), (String ((Ascii (true,
-    false, false, true, false, true, true, false)), (String ((Ascii (true,
-    true, false, false, false, true, true, false)), (String ((Ascii (true,
-    false, false, false, false, true, true, false)), (String ((Ascii (false,
-    false, true, false, true, true, true, false)), (String ((Ascii (true,
-    true, true, true, false, true, true, false)), (String ((Ascii (false,
-    true, false, false, true, true, true, false)),
-    EmptyString)))))))))))))))))))))))))))))))))))))))))))))))), (S (S
-    O)))) :: ((SNum ((String ((Ascii (false, true, true, false, false, false,
-    true, false)), (String ((Ascii (true, true, true, true, false, true,
-    true, false)), (String ((Ascii (false, true, false, false, true, true,
-    true, false)), (String ((Ascii (true, false, true, false, false, true,
-    true, false)), (String ((Ascii (true, false, false, true, false, true,
-    true, false)), (String ((Ascii (true, true, true, false, false, true,
-    true, false)), (String ((Ascii (false, true, true, true, false, true,
-    true, false)), (String ((Ascii (true, false, true, false, false, false,
-    true, false)), (String ((Ascii (false, false, false, true, true, true,
-    true, false)), (String ((Ascii (true, true, false, false, false, true,
-    true, false)), (String ((Ascii (false, false, false, true, false, true,
-    true, false)), (String ((Ascii (true, false, false, false, false, true,
-    true, false)), (String ((Ascii (false, true, true, true, false, true,
-    true, false)), (String ((Ascii (true, true, true, false, false, true,
-    true, false)), (String ((Ascii (true, false, true, false, false, true,
-    true, false)), (String ((Ascii (false, true, false, false, true, false,
-    true, false)), (String ((Ascii (true, false, true, false, false, true,
-    true, false)), (String ((Ascii (false, true, true, false, false, true,
-    true, false)), (String ((Ascii (true, false, true, false, false, true,
-    true, false)), (String ((Ascii (false, true, false, false, true, true,
-    true, false)), (String ((Ascii (true, false, true, false, false, true,
-    true, false)), (String ((Ascii (false, true, true, true, false, true,
-    true, false)), (String ((Ascii (true, true, false, false, false, true,
-    true, false)), (String ((Ascii (true, false, true, false, false, true,
-    true, false)), (String ((Ascii (true, false, false, true, false, false,
-    true, false)), (String ((Ascii (false, true, true, true, false, true,
-    true, false)), (String ((Ascii (false, false, true, false, false, true,
-    true, false)), (String ((Ascii (true, false, false, true, false, true,
-    true, false)), (String ((Ascii (true, true, false, false, false, true,
-    true, false)), (String ((Ascii (true, false, false, false, false, true,
-    true, false)), (String ((Ascii (false, false, true, false, true, true,
-    true, false)), (String ((Ascii (true, true, true, true, false, true,
-    true, false)), (String ((Ascii (false, true, false, false, true, true,
-    true, false)),
-    EmptyString)))))))))))))))))))))))))))))))))))))))))))))))))))))))))))))))))),
-    (S O))) :: ((SCustom ((String ((Ascii (true, false, false, true, false,
-    false, true, false)), (String ((Ascii (true, false, false, false, false,
-    false, true, false)), (String ((Ascii (false, false, true, false, true,
-    false, true, false)), (String ((Ascii (false, true, false, false, false,
-    false, true, false)), (String ((Ascii (true, false, false, false, false,
-    true, true, false)), (String ((Ascii (false, false, true, false, true,
-    true, true, false)), (String ((Ascii (true, true, false, false, false,
-    true, true, false)), (String ((Ascii (false, false, false, true, false,
-    true, true, false)), (String ((Ascii (false, false, false, true, false,
-    false, true, false)), (String ((Ascii (true, false, true, false, false,
-    true, true, false)), (String ((Ascii (true, false, false, false, false,
-    true, true, false)), (String ((Ascii (false, false, true, false, false,
-    true, true, false)), (String ((Ascii (true, false, true, false, false,
-    true, true, false)), (String ((Ascii (false, true, false, false, true,
-    true, true, false)), (String ((Ascii (false, true, true, true, false,
-    true, false, false)), (String ((Ascii (false, true, true, false, false,
-    false, true, false)), (String ((Ascii (true, true, true, true, false,
-    true, true, false)), (String ((Ascii (false, true, false, false, true,
-    true, true, false)), (String ((Ascii (true, false, true, false, false,
-    true, true, false)), (String ((Ascii (true, false, false, true, false,
-    true, true, false)), (String ((Ascii (true, true, true, false, false,
-    true, true, false)), (String ((Ascii (false, true, true, true, false,
-    true, true, false)), (String ((Ascii (true, false, true, false, false,
-    false, true, false)), (String ((Ascii (false, false, false, true, true,
-    true, true, false)), (String ((Ascii (true, true, false, false, false,
-    true, true, false)), (String ((Ascii (false, false, false, true, false,
-    true, true, false)), (String ((Ascii (true, false, false, false, false,
-    true, true, false)), (String ((Ascii (false, true, true, true, false,
-    true, true, false)), (String ((Ascii (true, true, true, false, false,
-    true, true, false)), (String ((Ascii (true, false, true, false, false,
-    true, true, false)), (String ((Ascii (false, true, false, false, true,
-    false, true, false)), (String ((Ascii (true, false, true, false, false,
-    true, true, false)), (String ((Ascii (false, true, true, false, false,
-    true, true, false)), (String ((Ascii (true, false, true, false, false,
-    true, true, false)), (String ((Ascii (false, true, false, false, true,
-    true, true, false)), (String ((Ascii (true, false, true, false, false,
-    true, true, false)), (String ((Ascii (false, true, true, true, false,
-    true, true, false)), (String ((Ascii (true, true, false, false, false,
-    true, true, false)), (String ((Ascii (true, false, true, false, false,
-    true, true, false)), (String ((Ascii (false, true, true, false, false,
-    false, true, false)), (String ((Ascii (true, false, false, true, false,
-    true, true, false)), (String ((Ascii (true, false, true, false, false,
-    true, true, false)), (String ((Ascii (false, false, true, true, false,
-    true, true, false)), (String ((Ascii (false, false, true, false, false,
-    true, true, false)),
-    EmptyString)))))))))))))))))))))))))))))))))))))))))))))))))))))))))))))))))))))))))))))))))))))))),
-    (String ((Ascii (true, true, false, false, false, true, true, false)),
-    (String ((Ascii (false, false, true, false, false, true, true, false)),
-    (String ((Ascii (false, false, false, true, true, true, false, false)),
-    (String ((Ascii (false, false, false, true, true, true, false, false)),
-    (String ((Ascii (true, false, false, false, false, true, true, false)),
-    (String ((Ascii (false, false, false, false, true, true, false, false)),
-    (String ((Ascii (false, false, true, false, false, true, true, false)),
-    (String ((Ascii (true, true, true, false, true, true, false, false)),
-    (String ((Ascii (true, false, true, false, true, true, false, false)),
-    (String ((Ascii (true, false, false, false, false, true, true, false)),
-    (String ((Ascii (false, true, true, false, false, true, true, false)),
-    (String ((Ascii (true, false, false, true, true, true, false, false)),
-    EmptyString)))))))))))))))))))))))))) :: ((SAlpha ((String ((Ascii (true,
-    false, false, true, false, false, true, false)), (String ((Ascii (true,
-    true, false, false, true, false, true, false)), (String ((Ascii (true,
-    true, true, true, false, false, true, false)), (String ((Ascii (false,
-    false, true, false, false, false, true, false)), (String ((Ascii (true,
-    false, true, false, false, true, true, false)), (String ((Ascii (true,
-    true, false, false, true, true, true, false)), (String ((Ascii (false,
-    false, true, false, true, true, true, false)), (String ((Ascii (true,
-    false, false, true, false, true, true, false)), (String ((Ascii (false,
-    true, true, true, false, true, true, false)), (String ((Ascii (true,
-    false, false, false, false, true, true, false)), (String ((Ascii (false,
-    false, true, false, true, true, true, false)), (String ((Ascii (true,
-    false, false, true, false, true, true, false)), (String ((Ascii (true,
-    true, true, true, false, true, true, false)), (String ((Ascii (false,
-    true, true, true, false, true, true, false)), (String ((Ascii (true,
-    true, false, false, false, false, true, false)), (String ((Ascii (true,
-    true, true, true, false, true, true, false)), (String ((Ascii (true,
-    false, true, false, true, true, true, false)), (String ((Ascii (false,
-    true, true, true, false, true, true, false)), (String ((Ascii (false,
-    false, true, false, true, true, true, false)), (String ((Ascii (false,
-    true, false, false, true, true, true, false)), (String ((Ascii (true,
-    false, false, true, true, true, true, false)), (String ((Ascii (true,
-    true, false, false, false, false, true, false)), (String ((Ascii (true,
-    true, true, true, false, true, true, false)), (String ((Ascii (false,
-    false, true, false, false, true, true, false)), (String ((Ascii (true,
-    false, true, false, false, true, true, false)),
-    EmptyString)))))))))))))))))))))))))))))))))))))))))))))))))), (S (S
-    O)))) :: ((SAlpha ((String ((Ascii (true, true, true, true, false, false,
-    true, false)), (String ((Ascii (false, true, false, false, true, true,
-    true, false)), (String ((Ascii (true, false, false, true, false, true,
-    true, false)), (String ((Ascii (true, true, true, false, false, true,
-    true, false)), (String ((Ascii (true, false, false, true, false, true,
-    true, false)), (String ((Ascii (false, true, true, true, false, true,
-    true, false)), (String ((Ascii (true, false, false, false, false, true,
-    true, false)), (String ((Ascii (false, false, true, false, true, true,
-    true, false)), (String ((Ascii (true, true, true, true, false, true,
-    true, false)), (String ((Ascii (false, true, false, false, true, true,
-    true, false)), (String ((Ascii (true, false, false, true, false, false,
-    true, false)), (String ((Ascii (false, false, true, false, false, true,
-    true, false)), (String ((Ascii (true, false, true, false, false, true,
-    true, false)), (String ((Ascii (false, true, true, true, false, true,
-    true, false)), (String ((Ascii (false, false, true, false, true, true,
-    true, false)), (String ((Ascii (true, false, false, true, false, true,
-    true, false)), (String ((Ascii (false, true, true, false, false, true,
-    true, false)), (String ((Ascii (true, false, false, true, false, true,
-    true, false)), (String ((Ascii (true, true, false, false, false, true,
-    true, false)), (String ((Ascii (true, false, false, false, false, true,
-    true, false)), (String ((Ascii (false, false, true, false, true, true,
-    true, false)), (String ((Ascii (true, false, false, true, false, true,
-    true, false)), (String ((Ascii (true, true, true, true, false, true,
-    true, false)), (String ((Ascii (false, true, true, true, false, true,
-    true, false)),
-    EmptyString)))))))))))))))))))))))))))))))))))))))))))))))), (S (S (S (S
-    (S (S (S (S (S (S O)))))))))))) :: ((SRaw (String ((Ascii (true, true,
-    false, false, true, false, true, false)), (String ((Ascii (false, false,
-    true, false, true, true, true, false)), (String ((Ascii (true, false,
-    false, false, false, true, true, false)), (String ((Ascii (false, true,
-    true, true, false, true, true, false)), (String ((Ascii (false, false,
-    true, false, false, true, true, false)), (String ((Ascii (true, false,
-    false, false, false, true, true, false)), (String ((Ascii (false, true,
-    false, false, true, true, true, false)), (String ((Ascii (false, false,
-    true, false, false, true, true, false)), (String ((Ascii (true, false,
-    true, false, false, false, true, false)), (String ((Ascii (false, true,
-    true, true, false, true, true, false)), (String ((Ascii (false, false,
-    true, false, true, true, true, false)), (String ((Ascii (false, true,
-    false, false, true, true, true, false)), (String ((Ascii (true, false,
-    false, true, true, true, true, false)), (String ((Ascii (true, true,
-    false, false, false, false, true, false)), (String ((Ascii (false, false,
-    true, true, false, true, true, false)), (String ((Ascii (true, false,
-    false, false, false, true, true, false)), (String ((Ascii (true, true,
-    false, false, true, true, true, false)), (String ((Ascii (true, true,
-    false, false, true, true, true, false)), (String ((Ascii (true, true,
-    false, false, false, false, true, false)), (String ((Ascii (true, true,
-    true, true, false, true, true, false)), (String ((Ascii (false, false,
-    true, false, false, true, true, false)), (String ((Ascii (true, false,
-    true, false, false, true, true, false)),
-    EmptyString))))))))))))))))))))))))))))))))))))))))))))) :: ((SAlpha
-    ((String ((Ascii (true, true, false, false, false, false, true, false)),
-    (String ((Ascii (true, true, true, true, false, true, true, false)),
-    (String ((Ascii (true, false, true, true, false, true, true, false)),
-    (String ((Ascii (false, false, false, false, true, true, true, false)),
-    (String ((Ascii (true, false, false, false, false, true, true, false)),
-    (String ((Ascii (false, true, true, true, false, true, true, false)),
-    (String ((Ascii (true, false, false, true, true, true, true, false)),
-    (String ((Ascii (true, false, true, false, false, false, true, false)),
-    (String ((Ascii (false, true, true, true, false, true, true, false)),
-    (String ((Ascii (false, false, true, false, true, true, true, false)),
-    (String ((Ascii (false, true, false, false, true, true, true, false)),
-    (String ((Ascii (true, false, false, true, true, true, true, false)),
-    (String ((Ascii (false, false, true, false, false, false, true, false)),
-    (String ((Ascii (true, false, true, false, false, true, true, false)),
-    (String ((Ascii (true, true, false, false, true, true, true, false)),
-    (String ((Ascii (true, true, false, false, false, true, true, false)),
-    (String ((Ascii (false, true, false, false, true, true, true, false)),
-    (String ((Ascii (true, false, false, true, false, true, true, false)),
-    (String ((Ascii (false, false, false, false, true, true, true, false)),
-    (String ((Ascii (false, false, true, false, true, true, true, false)),
-    (String ((Ascii (true, false, false, true, false, true, true, false)),
-    (String ((Ascii (true, true, true, true, false, true, true, false)),
-    (String ((Ascii (false, true, true, true, false, true, true, false)),
-    EmptyString)))))))))))))))))))))))))))))))))))))))))))))), (S (S (S (S (S
-    (S (S (S (S (S O)))))))))))) :: ((SAlpha ((String ((Ascii (true, false,
-    false, true, false, false, true, false)), (String ((Ascii (true, true,
-    false, false, true, false, true, false)), (String ((Ascii (true, true,
-    true, true, false, false, true, false)), (String ((Ascii (true, true,
-    true, true, false, false, true, false)), (String ((Ascii (false, true,
-    false, false, true, true, true, false)), (String ((Ascii (true, false,
-    false, true, false, true, true, false)), (String ((Ascii (true, true,
-    true, false, false, true, true, false)), (String ((Ascii (true, false,
-    false, true, false, true, true, false)), (String ((Ascii (false, true,
-    true, true, false, true, true, false)), (String ((Ascii (true, false,
-    false, false, false, true, true, false)), (String ((Ascii (false, false,
-    true, false, true, true, true, false)), (String ((Ascii (true, false,
-    false, true, false, true, true, false)), (String ((Ascii (false, true,
-    true, true, false, true, true, false)), (String ((Ascii (true, true,
-    true, false, false, true, true, false)), (String ((Ascii (true, true,
-    false, false, false, false, true, false)), (String ((Ascii (true, false,
-    true, false, true, true, true, false)), (String ((Ascii (false, true,
-    false, false, true, true, true, false)), (String ((Ascii (false, true,
-    false, false, true, true, true, false)), (String ((Ascii (true, false,
-    true, false, false, true, true, false)), (String ((Ascii (false, true,
-    true, true, false, true, true, false)), (String ((Ascii (true, true,
-    false, false, false, true, true, false)), (String ((Ascii (true, false,
-    false, true, true, true, true, false)), (String ((Ascii (true, true,
-    false, false, false, false, true, false)), (String ((Ascii (true, true,
-    true, true, false, true, true, false)), (String ((Ascii (false, false,
-    true, false, false, true, true, false)), (String ((Ascii (true, false,
-    true, false, false, true, true, false)),
-    EmptyString)))))))))))))))))))))))))))))))))))))))))))))))))))), (S (S (S
-    O))))) :: ((SAlpha ((String ((Ascii (true, false, false, true, false,
-    false, true, false)), (String ((Ascii (true, true, false, false, true,
-    false, true, false)), (String ((Ascii (true, true, true, true, false,
-    false, true, false)), (String ((Ascii (false, false, true, false, false,
-    false, true, false)), (String ((Ascii (true, false, true, false, false,
-    true, true, false)), (String ((Ascii (true, true, false, false, true,
-    true, true, false)), (String ((Ascii (false, false, true, false, true,
-    true, true, false)), (String ((Ascii (true, false, false, true, false,
-    true, true, false)), (String ((Ascii (false, true, true, true, false,
-    true, true, false)), (String ((Ascii (true, false, false, false, false,
-    true, true, false)), (String ((Ascii (false, false, true, false, true,
-    true, true, false)), (String ((Ascii (true, false, false, true, false,
-    true, true, false)), (String ((Ascii (true, true, true, true, false,
-    true, true, false)), (String ((Ascii (false, true, true, true, false,
-    true, true, false)), (String ((Ascii (true, true, false, false, false,
-    false, true, false)), (String ((Ascii (true, false, true, false, true,
-    true, true, false)), (String ((Ascii (false, true, false, false, true,
-    true, true, false)), (String ((Ascii (false, true, false, false, true,
-    true, true, false)), (String ((Ascii (true, false, true, false, false,
-    true, true, false)), (String ((Ascii (false, true, true, true, false,
-    true, true, false)), (String ((Ascii (true, true, false, false, false,
-    true, true, false)), (String ((Ascii (true, false, false, true, true,
-    true, true, false)), (String ((Ascii (true, true, false, false, false,
-    false, true, false)), (String ((Ascii (true, true, true, true, false,
-    true, true, false)), (String ((Ascii (false, false, true, false, false,
-    true, true, false)), (String ((Ascii (true, false, true, false, false,
-    true, true, false)),
-    EmptyString)))))))))))))))))))))))))))))))))))))))))))))))))))), (S (S (S
-    O))))) :: ((SStr ((String ((Ascii (true, false, true, false, false,
-    false, true, false)), (String ((Ascii (false, true, true, false, false,
-    true, true, false)), (String ((Ascii (false, true, true, false, false,
-    true, true, false)), (String ((Ascii (true, false, true, false, false,
-    true, true, false)), (String ((Ascii (true, true, false, false, false,
-    true, true, false)), (String ((Ascii (false, false, true, false, true,
-    true, true, false)), (String ((Ascii (true, false, false, true, false,
-    true, true, false)), (String ((Ascii (false, true, true, false, true,
-    true, true, false)), (String ((Ascii (true, false, true, false, false,
-    true, true, false)), (String ((Ascii (true, false, true, false, false,
-    false, true, false)), (String ((Ascii (false, true, true, true, false,
-    true, true, false)), (String ((Ascii (false, false, true, false, true,
-    true, true, false)), (String ((Ascii (false, true, false, false, true,
-    true, true, false)), (String ((Ascii (true, false, false, true, true,
-    true, true, false)), (String ((Ascii (false, false, true, false, false,
-    false, true, false)), (String ((Ascii (true, false, false, false, false,
-    true, true, false)), (String ((Ascii (false, false, true, false, true,
-    true, true, false)), (String ((Ascii (true, false, true, false, false,
-    true, true, false)), EmptyString)))))))))))))))))))))))))))))))))))), (S
-    (S (S (S (S (S O)))))))) :: ((SAlpha ((String ((Ascii (true, true, false,
-    false, true, false, true, false)), (String ((Ascii (true, false, true,
-    false, false, true, true, false)), (String ((Ascii (false, false, true,
-    false, true, true, true, false)), (String ((Ascii (false, false, true,
-    false, true, true, true, false)), (String ((Ascii (false, false, true,
-    true, false, true, true, false)), (String ((Ascii (true, false, true,
-    false, false, true, true, false)), (String ((Ascii (true, false, true,
-    true, false, true, true, false)), (String ((Ascii (true, false, true,
-    false, false, true, true, false)), (String ((Ascii (false, true, true,
-    true, false, true, true, false)), (String ((Ascii (false, false, true,
-    false, true, true, true, false)), (String ((Ascii (false, false, true,
-    false, false, false, true, false)), (String ((Ascii (true, false, false,
-    false, false, true, true, false)), (String ((Ascii (false, false, true,
-    false, true, true, true, false)), (String ((Ascii (true, false, true,
-    false, false, true, true, false)),
-    EmptyString)))))))))))))))))))))))))))), (S (S (S O))))) :: ((SItoa
-    (String ((Ascii (true, true, true, true, false, false, true, false)),
-    (String ((Ascii (false, true, false, false, true, true, true, false)),
-    (String ((Ascii (true, false, false, true, false, true, true, false)),
-    (String ((Ascii (true, true, true, false, false, true, true, false)),
-    (String ((Ascii (true, false, false, true, false, true, true, false)),
-    (String ((Ascii (false, true, true, true, false, true, true, false)),
-    (String ((Ascii (true, false, false, false, false, true, true, false)),
-    (String ((Ascii (false, false, true, false, true, true, true, false)),
-    (String ((Ascii (true, true, true, true, false, true, true, false)),
-    (String ((Ascii (false, true, false, false, true, true, true, false)),
-    (String ((Ascii (true, true, false, false, true, false, true, false)),
-    (String ((Ascii (false, false, true, false, true, true, true, false)),
-    (String ((Ascii (true, false, false, false, false, true, true, false)),
-    (String ((Ascii (false, false, true, false, true, true, true, false)),
-    (String ((Ascii (true, false, true, false, true, true, true, false)),
-    (String ((Ascii (true, true, false, false, true, true, true, false)),
-    (String ((Ascii (true, true, false, false, false, false, true, false)),
-    (String ((Ascii (true, true, true, true, false, true, true, false)),
-    (String ((Ascii (false, false, true, false, false, true, true, false)),
-    (String ((Ascii (true, false, true, false, false, true, true, false)),
-    EmptyString))))))))))))))))))))))))))))))))))))))))) :: ((SStr ((String
-    ((Ascii (true, true, true, true, false, false, true, false)), (String
-    ((Ascii (false, false, true, false, false, false, true, false)), (String
-    ((Ascii (false, true, true, false, false, false, true, false)), (String
-    ((Ascii (true, false, false, true, false, false, true, false)), (String
-    ((Ascii (true, false, false, true, false, false, true, false)), (String
-    ((Ascii (false, false, true, false, false, true, true, false)), (String
-    ((Ascii (true, false, true, false, false, true, true, false)), (String
-    ((Ascii (false, true, true, true, false, true, true, false)), (String
-    ((Ascii (false, false, true, false, true, true, true, false)), (String
-    ((Ascii (true, false, false, true, false, true, true, false)), (String
-    ((Ascii (false, true, true, false, false, true, true, false)), (String
-    ((Ascii (true, false, false, true, false, true, true, false)), (String
-    ((Ascii (true, true, false, false, false, true, true, false)), (String
-    ((Ascii (true, false, false, false, false, true, true, false)), (String
-    ((Ascii (false, false, true, false, true, true, true, false)), (String
-    ((Ascii (true, false, false, true, false, true, true, false)), (String
-    ((Ascii (true, true, true, true, false, true, true, false)), (String
-    ((Ascii (false, true, true, true, false, true, true, false)),
-    EmptyString)))))))))))))))))))))))))))))))))))), (S (S (S (S (S (S (S (S
-    O)))))))))) :: ((SNum ((String ((Ascii (false, true, false, false, false,
-    false, true, false)), (String ((Ascii (true, false, false, false, false,
-    true, true, false)), (String ((Ascii (false, false, true, false, true,
-    true, true, false)), (String ((Ascii (true, true, false, false, false,
-    true, true, false)), (String ((Ascii (false, false, false, true, false,
-    true, true, false)), (String ((Ascii (false, true, true, true, false,
-    false, true, false)), (String ((Ascii (true, false, true, false, true,
-    true, true, false)), (String ((Ascii (true, false, true, true, false,
-    true, true, false)), (String ((Ascii (false, true, false, false, false,
-    true, true, false)), (String ((Ascii (true, false, true, false, false,
-    true, true, false)), (String ((Ascii (false, true, false, false, true,
-    true, true, false)), EmptyString)))))))))))))))))))))), (S (S (S (S (S (S
-    (S O))))))))) :: []))))))))))))))))); l_cuts =
-    ((mkcut O (S O) EmptyString []) :: ((mkcut (S O) (S (S (S (S O))))
-                                          (String ((Ascii (true, true, false,
-                                          false, true, false, true, false)),
-                                          (String ((Ascii (true, false, true,
-                                          false, false, true, true, false)),
-                                          (String ((Ascii (false, true,
-                                          false, false, true, true, true,
-                                          false)), (String ((Ascii (false,
-                                          true, true, false, true, true,
-                                          true, false)), (String ((Ascii
-                                          (true, false, false, true, false,
-                                          true, true, false)), (String
-                                          ((Ascii (true, true, false, false,
-                                          false, true, true, false)), (String
-                                          ((Ascii (true, false, true, false,
-                                          false, true, true, false)), (String
-                                          ((Ascii (true, true, false, false,
-                                          false, false, true, false)),
-                                          (String ((Ascii (false, false,
-                                          true, true, false, true, true,
-                                          false)), (String ((Ascii (true,
-                                          false, false, false, false, true,
-                                          true, false)), (String ((Ascii
-                                          (true, true, false, false, true,
-                                          true, true, false)), (String
-                                          ((Ascii (true, true, false, false,
-                                          true, true, true, false)), (String
-                                          ((Ascii (true, true, false, false,
-                                          false, false, true, false)),
-                                          (String ((Ascii (true, true, true,
-                                          true, false, true, true, false)),
-                                          (String ((Ascii (false, false,
-                                          true, false, false, true, true,
-                                          false)), (String ((Ascii (true,
-                                          false, true, false, false, true,
-                                          true, false)),
-                                          EmptyString))))))))))))))))))))))))))))))))
-                                          ((String ((Ascii (false, false,
-                                          false, false, true, true, true,
-                                          false)), (String ((Ascii (true,
-                                          false, false, false, false, true,
-                                          true, false)), (String ((Ascii
-                                          (false, true, false, false, true,
-                                          true, true, false)), (String
-                                          ((Ascii (true, true, false, false,
-                                          true, true, true, false)), (String
-                                          ((Ascii (true, false, true, false,
-                                          false, true, true, false)), (String
-                                          ((Ascii (false, true, true, true,
-                                          false, false, true, false)),
-                                          (String ((Ascii (true, false, true,
-                                          false, true, true, true, false)),
-                                          (String ((Ascii (true, false, true,
-                                          true, false, true, true, false)),
-                                          (String ((Ascii (false, true, true,
-                                          false, false, false, true, false)),
-                                          (String ((Ascii (true, false,
-                                          false, true, false, true, true,
-                                          false)), (String ((Ascii (true,
-                                          false, true, false, false, true,
-                                          true, false)), (String ((Ascii
-                                          (false, false, true, true, false,
-                                          true, true, false)), (String
-                                          ((Ascii (false, false, true, false,
-                                          false, true, true, false)),
-                                          EmptyString)))))))))))))))))))))))))) :: [])) :: (
-    (mkcut (S (S (S (S O)))) (S (S (S (S (S (S (S (S (S (S (S (S (S (S (S (S
-      (S (S (S (S O)))))))))))))))))))) (String ((Ascii (true, false, false,
-      true, false, false, true, false)), (String ((Ascii (true, false, false,
-      false, false, false, true, false)), (String ((Ascii (false, false,
-      true, false, true, false, true, false)), (String ((Ascii (true, false,
-      false, true, false, false, true, false)), (String ((Ascii (false, true,
-      true, true, false, true, true, false)), (String ((Ascii (false, false,
-      true, false, false, true, true, false)), (String ((Ascii (true, false,
-      false, true, false, true, true, false)), (String ((Ascii (true, true,
-      false, false, false, true, true, false)), (String ((Ascii (true, false,
-      false, false, false, true, true, false)), (String ((Ascii (false,
-      false, true, false, true, true, true, false)), (String ((Ascii (true,
-      true, true, true, false, true, true, false)), (String ((Ascii (false,
-      true, false, false, true, true, true, false)),
-      EmptyString)))))))))))))))))))))))) ((String ((Ascii (false, false,
-      false, false, true, true, true, false)), (String ((Ascii (true, false,
-      false, false, false, true, true, false)), (String ((Ascii (false, true,
-      false, false, true, true, true, false)), (String ((Ascii (true, true,
-      false, false, true, true, true, false)), (String ((Ascii (true, false,
-      true, false, false, true, true, false)), (String ((Ascii (true, true,
-      false, false, true, false, true, false)), (String ((Ascii (false,
-      false, true, false, true, true, true, false)), (String ((Ascii (false,
-      true, false, false, true, true, true, false)), (String ((Ascii (true,
-      false, false, true, false, true, true, false)), (String ((Ascii (false,
-      true, true, true, false, true, true, false)), (String ((Ascii (true,
-      true, true, false, false, true, true, false)), (String ((Ascii (false,
-      true, true, false, false, false, true, false)), (String ((Ascii (true,
-      false, false, true, false, true, true, false)), (String ((Ascii (true,
-      false, true, false, false, true, true, false)), (String ((Ascii (false,
-      false, true, true, false, true, true, false)), (String ((Ascii (false,
-      false, true, false, false, true, true, false)),
-      EmptyString)))))))))))))))))))))))))))))))) :: [])) :: ((mkcut (S (S (S
-                                                                (S (S (S (S
-                                                                (S (S (S (S
-                                                                (S (S (S (S
-                                                                (S (S (S (S
-                                                                (S
-                                                                O))))))))))))))))))))
-                                                                (S (S (S (S
-                                                                (S (S (S (S
-                                                                (S (S (S (S
-                                                                (S (S (S (S
-                                                                (S (S (S (S
-                                                                (S (S
-                                                                O))))))))))))))))))))))
-                                                                (String
-                                                                ((Ascii
-                                                                (false, true,
-                                                                true, false,
-                                                                false, false,
-                                                                true,
-                                                                false)),
-                                                                (String
-                                                                ((Ascii
-                                                                (true, true,
-                                                                true, true,
-                                                                false, true,
-                                                                true,
-                                                                false)),
-                                                                (String
-                                                                ((Ascii
-                                                                (false, true,
-                                                                false, false,
-                                                                true, true,
-                                                                true,
-                                                                false)),
-                                                                (String
-                                                                ((Ascii
-                                                                (true, false,
-                                                                true, false,
-                                                                false, true,
-                                                                true,
-                                                                false)),
-                                                                (String
-                                                                ((Ascii
-                                                                (true, false,
-                                                                false, true,
-                                                                false, true,
-                                                                true,
-                                                                false)),
-                                                                (String
-                                                                ((Ascii
-                                                                (true, true,
-                                                                true, false,
-                                                                false, true,
-                                                                true,
-                                                                false)),
-                                                                (String
-                                                                ((Ascii
-                                                                (false, true,
-                                                                true, true,
-                                                                false, true,
-                                                                true,
-                                                                false)),
-                                                                (String
-                                                                ((Ascii
-                                                                (true, false,
-                                                                true, false,
-                                                                false, false,
-                                                                true,
-                                                                false)),
-                                                                (String
-                                                                ((Ascii
-                                                                (false,
-                                                                false, false,
-                                                                true, true,
-                                                                true, true,
-                                                                false)),
-                                                                (String
-                                                                ((Ascii
-                                                                (true, true,
-                                                                false, false,
-                                                                false, true,
-                                                                true,
-                                                                false)),
-                                                                (String
-                                                                ((Ascii
-                                                                (false,
-                                                                false, false,
-                                                                true, false,
-                                                                true, true,
-                                                                false)),
-                                                                (String
-                                                                ((Ascii
-                                                                (true, false,
-                                                                false, false,
-                                                                false, true,
-                                                                true,
-                                                                false)),
-                                                                (String
-                                                                ((Ascii
-                                                                (false, true,
-                                                                true, true,
-                                                                false, true,
-                                                                true,
-                                                                false)),
-                                                                (String
-                                                                ((Ascii
-                                                                (true, true,
-                                                                true, false,
-                                                                false, true,
-                                                                true,
-                                                                false)),
-                                                                (String
-                                                                ((Ascii
-                                                                (true, false,
-                                                                true, false,
-                                                                false, true,
-                                                                true,
-                                                                false)),
-                                                                (String
-                                                                ((Ascii
-                                                                (true, false,
-                                                                false, true,
-                                                                false, false,
-                                                                true,
-                                                                false)),
-                                                                (String
-                                                                ((Ascii
-                                                                (false, true,
-                                                                true, true,
-                                                                false, true,
-                                                                true,
-                                                                false)),
-                                                                (String
-                                                                ((Ascii
-                                                                (false,
-                                                                false, true,
-                                                                false, false,
-                                                                true, true,
-                                                                false)),
-                                                                (String
-                                                                ((Ascii
-                                                                (true, false,
-                                                                false, true,
-                                                                false, true,
-                                                                true,
-                                                                false)),
-                                                                (String
-                                                                ((Ascii
-                                                                (true, true,
-                                                                false, false,
-                                                                false, true,
-                                                                true,
-                                                                false)),
-                                                                (String
-                                                                ((Ascii
-                                                                (true, false,
-                                                                false, false,
-                                                                false, true,
-                                                                true,
-                                                                false)),
-                                                                (String
-                                                                ((Ascii
-                                                                (false,
-                                                                false, true,
-                                                                false, true,
-                                                                true, true,
-                                                                false)),
-                                                                (String
-                                                                ((Ascii
-                                                                (true, true,
-                                                                true, true,
-                                                                false, true,
-                                                                true,
-                                                                false)),
-                                                                (String
-                                                                ((Ascii
-                                                                (false, true,
-                                                                false, false,
-                                                                true, true,
-                                                                true,
-                                                                false)),
-                                                                EmptyString))))))))))))))))))))))))))))))))))))))))))))))))
-                                                                ((String
-                                                                ((Ascii
-                                                                (false,
-                                                                false, false,
-                                                                false, true,
-                                                                true, true,
-                                                                false)),
-                                                                (String
-                                                                ((Ascii
-                                                                (true, false,
-                                                                false, false,
-                                                                false, true,
-                                                                true,
-                                                                false)),
-                                                                (String
-                                                                ((Ascii
-                                                                (false, true,
-                                                                false, false,
-                                                                true, true,
-                                                                true,
-                                                                false)),
-                                                                (String
-                                                                ((Ascii
-                                                                (true, true,
-                                                                false, false,
-                                                                true, true,
-                                                                true,
-                                                                false)),
-                                                                (String
-                                                                ((Ascii
-                                                                (true, false,
-                                                                true, false,
-                                                                false, true,
-                                                                true,
-                                                                false)),
-                                                                (String
-                                                                ((Ascii
-                                                                (true, true,
-                                                                false, false,
-                                                                true, false,
-                                                                true,
-                                                                false)),
-                                                                (String
-                                                                ((Ascii
-                                                                (false,
-                                                                false, true,
-                                                                false, true,
-                                                                true, true,
-                                                                false)),
-                                                                (String
-                                                                ((Ascii
-                                                                (false, true,
-                                                                false, false,
-                                                                true, true,
-                                                                true,
-                                                                false)),
-                                                                (String
-                                                                ((Ascii
-                                                                (true, false,
-                                                                false, true,
-                                                                false, true,
-                                                                true,
-                                                                false)),
-                                                                (String
-                                                                ((Ascii
-                                                                (false, true,
-                                                                true, true,
-                                                                false, true,
-                                                                true,
-                                                                false)),
-                                                                (String
-                                                                ((Ascii
-                                                                (true, true,
-                                                                true, false,
-                                                                false, true,
-                                                                true,
-                                                                false)),
-                                                                (String
-                                                                ((Ascii
-                                                                (false, true,
-                                                                true, false,
-                                                                false, false,
-                                                                true,
-                                                                false)),
-                                                                (String
-                                                                ((Ascii
-                                                                (true, false,
-                                                                false, true,
-                                                                false, true,
-                                                                true,
-                                                                false)),
-                                                                (String
-                                                                ((Ascii
-                                                                (true, false,
-                                                                true, false,
-                                                                false, true,
-                                                                true,
-                                                                false)),
-                                                                (String
-                                                                ((Ascii
-                                                                (false,
-                                                                false, true,
-                                                                true, false,
-                                                                true, true,
-                                                                false)),
-                                                                (String
-                                                                ((Ascii
-                                                                (false,
-                                                                false, true,
-                                                                false, false,
-                                                                true, true,
-                                                                false)),
-                                                                EmptyString)))))))))))))))))))))))))))))))) :: [])) :: (
-    (mkcut (S (S (S (S (S (S (S (S (S (S (S (S (S (S (S (S (S (S (S (S (S (S
-      O)))))))))))))))))))))) (S (S (S (S (S (S (S (S (S (S (S (S (S (S (S (S
-      (S (S (S (S (S (S (S O))))))))))))))))))))))) (String ((Ascii (false,
-      true, true, false, false, false, true, false)), (String ((Ascii (true,
-      true, true, true, false, true, true, false)), (String ((Ascii (false,
-      true, false, false, true, true, true, false)), (String ((Ascii (true,
-      false, true, false, false, true, true, false)), (String ((Ascii (true,
-      false, false, true, false, true, true, false)), (String ((Ascii (true,
-      true, true, false, false, true, true, false)), (String ((Ascii (false,
-      true, true, true, false, true, true, false)), (String ((Ascii (true,
-      false, true, false, false, false, true, false)), (String ((Ascii
-      (false, false, false, true, true, true, true, false)), (String ((Ascii
-      (true, true, false, false, false, true, true, false)), (String ((Ascii
-      (false, false, false, true, false, true, true, false)), (String ((Ascii
-      (true, false, false, false, false, true, true, false)), (String ((Ascii
-      (false, true, true, true, false, true, true, false)), (String ((Ascii
-      (true, true, true, false, false, true, true, false)), (String ((Ascii
-      (true, false, true, false, false, true, true, false)), (String ((Ascii
-      (false, true, false, false, true, false, true, false)), (String ((Ascii
-      (true, false, true, false, false, true, true, false)), (String ((Ascii
-      (false, true, true, false, false, true, true, false)), (String ((Ascii
-      (true, false, true, false, false, true, true, false)), (String ((Ascii
-      (false, true, false, false, true, true, true, false)), (String ((Ascii
-      (true, false, true, false, false, true, true, false)), (String ((Ascii
-      (false, true, true, true, false, true, true, false)), (String ((Ascii
-      (true, true, false, false, false, true, true, false)), (String ((Ascii
-      (true, false, true, false, false, true, true, false)), (String ((Ascii
-      (true, false, false, true, false, false, true, false)), (String ((Ascii
-      (false, true, true, true, false, true, true, false)), (String ((Ascii
-      (false, false, true, false, false, true, true, false)), (String ((Ascii
-      (true, false, false, true, false, true, true, false)), (String ((Ascii
-      (true, true, false, false, false, true, true, false)), (String ((Ascii
-      (true, false, false, false, false, true, true, false)), (String ((Ascii
-      (false, false, true, false, true, true, true, false)), (String ((Ascii
-      (true, true, true, true, false, true, true, false)), (String ((Ascii
-      (false, true, false, false, true, true, true, false)),
-      EmptyString))))))))))))))))))))))))))))))))))))))))))))))))))))))))))))))))))
-      ((String ((Ascii (false, false, false, false, true, true, true,
-      false)), (String ((Ascii (true, false, false, false, false, true, true,
-      false)), (String ((Ascii (false, true, false, false, true, true, true,
-      false)), (String ((Ascii (true, true, false, false, true, true, true,
-      false)), (String ((Ascii (true, false, true, false, false, true, true,
-      false)), (String ((Ascii (false, true, true, true, false, false, true,
-      false)), (String ((Ascii (true, false, true, false, true, true, true,
-      false)), (String ((Ascii (true, false, true, true, false, true, true,
-      false)), (String ((Ascii (false, true, true, false, false, false, true,
-      false)), (String ((Ascii (true, false, false, true, false, true, true,
-      false)), (String ((Ascii (true, false, true, false, false, true, true,
-      false)), (String ((Ascii (false, false, true, true, false, true, true,
-      false)), (String ((Ascii (false, false, true, false, false, true, true,
-      false)), EmptyString)))))))))))))))))))))))))) :: [])) :: ((mkcut (S (S
-                                                                   (S (S (S
-                                                                   (S (S (S
-                                                                   (S (S (S
-                                                                   (S (S (S
-                                                                   (S (S (S
-                                                                   (S (S (S
-                                                                   (S (S (S
-                                                                   O)))))))))))))))))))))))
-                                                                   (S (S (S
-                                                                   (S (S (S
-                                                                   (S (S (S
-                                                                   (S (S (S
-                                                                   (S (S (S
-                                                                   (S (S (S
-                                                                   (S (S (S
-                                                                   (S (S (S
-                                                                   (S (S (S
-                                                                   (S (S (S
-                                                                   (S (S (S
-                                                                   (S (S (S
-                                                                   (S (S
-                                                                   O))))))))))))))))))))))))))))))))))))))
-                                                                   (String
-                                                                   ((Ascii
-                                                                   (false,
-                                                                   true,
-                                                                   true,
-                                                                   false,
-                                                                   false,
-                                                                   false,
-                                                                   true,
-                                                                   false)),
-                                                                   (String
-                                                                   ((Ascii
-                                                                   (true,
-                                                                   true,
-                                                                   true,
-                                                                   true,
-                                                                   false,
-                                                                   true,
-                                                                   true,
-                                                                   false)),
-                                                                   (String
-                                                                   ((Ascii
-                                                                   (false,
-                                                                   true,
-                                                                   false,
-                                                                   false,
-                                                                   true,
-                                                                   true,
-                                                                   true,
-                                                                   false)),
-                                                                   (String
-                                                                   ((Ascii
-                                                                   (true,
-                                                                   false,
-                                                                   true,
-                                                                   false,
-                                                                   false,
-                                                                   true,
-                                                                   true,
-                                                                   false)),
-                                                                   (String
-                                                                   ((Ascii
-                                                                   (true,
-                                                                   false,
-                                                                   false,
-                                                                   true,
-                                                                   false,
-                                                                   true,
-                                                                   true,
-                                                                   false)),
-                                                                   (String
-                                                                   ((Ascii
-                                                                   (true,
-                                                                   true,
-                                                                   true,
-                                                                   false,
-                                                                   false,
-                                                                   true,
-                                                                   true,
-                                                                   false)),
-                                                                   (String
-                                                                   ((Ascii
-                                                                   (false,
-                                                                   true,
-                                                                   true,
-                                                                   true,
-                                                                   false,
-                                                                   true,
-                                                                   true,
-                                                                   false)),
-                                                                   (String
-                                                                   ((Ascii
-                                                                   (true,
-                                                                   false,
-                                                                   true,
-                                                                   false,
-                                                                   false,
-                                                                   false,
-                                                                   true,
-                                                                   false)),
-                                                                   (String
-                                                                   ((Ascii
-                                                                   (false,
-                                                                   false,
-                                                                   false,
-                                                                   true,
-                                                                   true,
-                                                                   true,
-                                                                   true,
-                                                                   false)),
-                                                                   (String
-                                                                   ((Ascii
-                                                                   (true,
-                                                                   true,
-                                                                   false,
-                                                                   false,
-                                                                   false,
-                                                                   true,
-                                                                   true,
-                                                                   false)),
-                                                                   (String
-                                                                   ((Ascii
-                                                                   (false,
-                                                                   false,
-                                                                   false,
-                                                                   true,
-                                                                   false,
-                                                                   true,
-                                                                   true,
-                                                                   false)),
-                                                                   (String
-                                                                   ((Ascii
-                                                                   (true,
-                                                                   false,
-                                                                   false,
-                                                                   false,
-                                                                   false,
-                                                                   true,
-                                                                   true,
-                                                                   false)),
-                                                                   (String
-                                                                   ((Ascii
-                                                                   (false,
-                                                                   true,
-                                                                   true,
-                                                                   true,
-                                                                   false,
-                                                                   true,
-                                                                   true,
-                                                                   false)),
-                                                                   (String
-                                                                   ((Ascii
-                                                                   (true,
-                                                                   true,
-                                                                   true,
-                                                                   false,
-                                                                   false,
-                                                                   true,
-                                                                   true,
-                                                                   false)),
-                                                                   (String
-                                                                   ((Ascii
-                                                                   (true,
-                                                                   false,
-                                                                   true,
-                                                                   false,
-                                                                   false,
-                                                                   true,
-                                                                   true,
-                                                                   false)),
-                                                                   (String
-                                                                   ((Ascii
-                                                                   (false,
-                                                                   true,
-                                                                   false,
-                                                                   false,
-                                                                   true,
-                                                                   false,
-                                                                   true,
-                                                                   false)),
-                                                                   (String
-                                                                   ((Ascii
-                                                                   (true,
-                                                                   false,
-                                                                   true,
-                                                                   false,
-                                                                   false,
-                                                                   true,
-                                                                   true,
-                                                                   false)),
-                                                                   (String
-                                                                   ((Ascii
-                                                                   (false,
-                                                                   true,
-                                                                   true,
-                                                                   false,
-                                                                   false,
-                                                                   true,
-                                                                   true,
-                                                                   false)),
-                                                                   (String
-                                                                   ((Ascii
-                                                                   (true,
-                                                                   false,
-                                                                   true,
-                                                                   false,
-                                                                   false,
-                                                                   true,
-                                                                   true,
-                                                                   false)),
-                                                                   (String
-                                                                   ((Ascii
-                                                                   (false,
-                                                                   true,
-                                                                   false,
-                                                                   false,
-                                                                   true,
-                                                                   true,
-                                                                   true,
-                                                                   false)),
-                                                                   (String
-                                                                   ((Ascii
-                                                                   (true,
-                                                                   false,
-                                                                   true,
-                                                                   false,
-                                                                   false,
-                                                                   true,
-                                                                   true,
-                                                                   false)),
-                                                                   (String
-                                                                   ((Ascii
-                                                                   (false,
-                                                                   true,
-                                                                   true,
-                                                                   true,
-                                                                   false,
-                                                                   true,
-                                                                   true,
-                                                                   false)),
-                                                                   (String
-                                                                   ((Ascii
-                                                                   (true,
-                                                                   true,
-                                                                   false,
-                                                                   false,
-                                                                   false,
-                                                                   true,
-                                                                   true,
-                                                                   false)),
-                                                                   (String
-                                                                   ((Ascii
-                                                                   (true,
-                                                                   false,
-                                                                   true,
-                                                                   false,
-                                                                   false,
-                                                                   true,
-                                                                   true,
-                                                                   false)),
-                                                                   EmptyString))))))))))))))))))))))))))))))))))))))))))))))))
-                                                                   ((String
-                                                                   ((Ascii
-                                                                   (false,
-                                                                   false,
-                                                                   false,
-                                                                   false,
-                                                                   true,
-                                                                   true,
-                                                                   true,
-                                                                   false)),
-                                                                   (String
-                                                                   ((Ascii
-                                                                   (true,
-                                                                   false,
-                                                                   false,
-                                                                   false,
-                                                                   false,
-                                                                   true,
-                                                                   true,
-                                                                   false)),
-                                                                   (String
-                                                                   ((Ascii
-                                                                   (false,
-                                                                   true,
-                                                                   false,
-                                                                   false,
-                                                                   true,
-                                                                   true,
-                                                                   true,
-                                                                   false)),
-                                                                   (String
-                                                                   ((Ascii
-                                                                   (true,
-                                                                   true,
-                                                                   false,
-                                                                   false,
-                                                                   true,
-                                                                   true,
-                                                                   true,
-                                                                   false)),
-                                                                   (String
-                                                                   ((Ascii
-                                                                   (true,
-                                                                   false,
-                                                                   true,
-                                                                   false,
-                                                                   false,
-                                                                   true,
-                                                                   true,
-                                                                   false)),
-                                                                   (String
-                                                                   ((Ascii
-                                                                   (true,
-                                                                   true,
-                                                                   false,
-                                                                   false,
-                                                                   true,
-                                                                   false,
-                                                                   true,
-                                                                   false)),
-                                                                   (String
-                                                                   ((Ascii
-                                                                   (false,
-                                                                   false,
-                                                                   true,
-                                                                   false,
-                                                                   true,
-                                                                   true,
-                                                                   true,
-                                                                   false)),
-                                                                   (String
-                                                                   ((Ascii
-                                                                   (false,
-                                                                   true,
-                                                                   false,
-                                                                   false,
-                                                                   true,
-                                                                   true,
-                                                                   true,
-                                                                   false)),
-                                                                   (String
-                                                                   ((Ascii
-                                                                   (true,
-                                                                   false,
-                                                                   false,
-                                                                   true,
-                                                                   false,
-                                                                   true,
-                                                                   true,
-                                                                   false)),
-                                                                   (String
-                                                                   ((Ascii
-                                                                   (false,
-                                                                   true,
-                                                                   true,
-                                                                   true,
-                                                                   false,
-                                                                   true,
-                                                                   true,
-                                                                   false)),
-                                                                   (String
-                                                                   ((Ascii
-                                                                   (true,
-                                                                   true,
-                                                                   true,
-                                                                   false,
-                                                                   false,
-                                                                   true,
-                                                                   true,
-                                                                   false)),
-                                                                   (String
-                                                                   ((Ascii
-                                                                   (false,
-                                                                   true,
-                                                                   true,
-                                                                   false,
-                                                                   false,
-                                                                   false,
-                                                                   true,
-                                                                   false)),
-                                                                   (String
-                                                                   ((Ascii
-                                                                   (true,
-                                                                   false,
-                                                                   false,
-                                                                   true,
-                                                                   false,
-                                                                   true,
-                                                                   true,
-                                                                   false)),
-                                                                   (String
-                                                                   ((Ascii
-                                                                   (true,
-                                                                   false,
-                                                                   true,
-                                                                   false,
-                                                                   false,
-                                                                   true,
-                                                                   true,
-                                                                   false)),
-                                                                   (String
-                                                                   ((Ascii
-                                                                   (false,
-                                                                   false,
-                                                                   true,
-                                                                   true,
-                                                                   false,
-                                                                   true,
-                                                                   true,
-                                                                   false)),
-                                                                   (String
-                                                                   ((Ascii
-                                                                   (false,
-                                                                   false,
-                                                                   true,
-                                                                   false,
-                                                                   false,
-                                                                   true,
-                                                                   true,
-                                                                   false)),
-                                                                   EmptyString)))))))))))))))))))))))))))))))) :: [])) :: (
-    (mkcut (S (S (S (S (S (S (S (S (S (S (S (S (S (S (S (S (S (S (S (S (S (S
-      (S (S (S (S (S (S (S (S (S (S (S (S (S (S (S (S
-      O)))))))))))))))))))))))))))))))))))))) (S (S (S (S (S (S (S (S (S (S
-      (S (S (S (S (S (S (S (S (S (S (S (S (S (S (S (S (S (S (S (S (S (S (S (S
-      (S (S (S (S (S (S O)))))))))))))))))))))))))))))))))))))))) (String
-      ((Ascii (true, false, false, true, false, false, true, false)), (String
-      ((Ascii (true, true, false, false, true, false, true, false)), (String
-      ((Ascii (true, true, true, true, false, false, true, false)), (String
-      ((Ascii (false, false, true, false, false, false, true, false)),
-      (String ((Ascii (true, false, true, false, false, true, true, false)),
-      (String ((Ascii (true, true, false, false, true, true, true, false)),
-      (String ((Ascii (false, false, true, false, true, true, true, false)),
-      (String ((Ascii (true, false, false, true, false, true, true, false)),
-      (String ((Ascii (false, true, true, true, false, true, true, false)),
-      (String ((Ascii (true, false, false, false, false, true, true, false)),
-      (String ((Ascii (false, false, true, false, true, true, true, false)),
-      (String ((Ascii (true, false, false, true, false, true, true, false)),
-      (String ((Ascii (true, true, true, true, false, true, true, false)),
-      (String ((Ascii (false, true, true, true, false, true, true, false)),
-      (String ((Ascii (true, true, false, false, false, false, true, false)),
-      (String ((Ascii (true, true, true, true, false, true, true, false)),
-      (String ((Ascii (true, false, true, false, true, true, true, false)),
-      (String ((Ascii (false, true, true, true, false, true, true, false)),
-      (String ((Ascii (false, false, true, false, true, true, true, false)),
-      (String ((Ascii (false, true, false, false, true, true, true, false)),
-      (String ((Ascii (true, false, false, true, true, true, true, false)),
-      (String ((Ascii (true, true, false, false, false, false, true, false)),
-      (String ((Ascii (true, true, true, true, false, true, true, false)),
-      (String ((Ascii (false, false, true, false, false, true, true, false)),
-      (String ((Ascii (true, false, true, false, false, true, true, false)),
-      EmptyString)))))))))))))))))))))))))))))))))))))))))))))))))) ((String
-      ((Ascii (false, false, false, false, true, true, true, false)), (String
-      ((Ascii (true, false, false, false, false, true, true, false)), (String
-      ((Ascii (false, true, false, false, true, true, true, false)), (String
-      ((Ascii (true, true, false, false, true, true, true, false)), (String
-      ((Ascii (true, false, true, false, false, true, true, false)), (String
-      ((Ascii (true, true, false, false, true, false, true, false)), (String
-      ((Ascii (false, false, true, false, true, true, true, false)), (String
-      ((Ascii (false, true, false, false, true, true, true, false)), (String
-      ((Ascii (true, false, false, true, false, true, true, false)), (String
-      ((Ascii (false, true, true, true, false, true, true, false)), (String
-      ((Ascii (true, true, true, false, false, true, true, false)), (String
-      ((Ascii (false, true, true, false, false, false, true, false)), (String
-      ((Ascii (true, false, false, true, false, true, true, false)), (String
-      ((Ascii (true, false, true, false, false, true, true, false)), (String
-      ((Ascii (false, false, true, true, false, true, true, false)), (String
-      ((Ascii (false, false, true, false, false, true, true, false)),
-      EmptyString)))))))))))))))))))))))))))))))) :: [])) :: ((mkcut (S (S (S
-                                                                (S (S (S (S
-                                                                (S (S (S (S
-                                                                (S (S (S (S
-                                                                (S (S (S (S
-                                                                (S (S (S (S
-                                                                (S (S (S (S
-                                                                (S (S (S (S
-                                                                (S (S (S (S
-                                                                (S (S (S (S
-                                                                (S
-                                                                O))))))))))))))))))))))))))))))))))))))))
-                                                                (S (S (S (S
-                                                                (S (S (S (S
-                                                                (S (S (S (S
-                                                                (S (S (S (S
-                                                                (S (S (S (S
-                                                                (S (S (S (S
-                                                                (S (S (S (S
-                                                                (S (S (S (S
-                                                                (S (S (S (S
-                                                                (S (S (S (S
-                                                                (S (S (S (S
-                                                                (S (S (S (S
-                                                                (S (S
-                                                                O))))))))))))))))))))))))))))))))))))))))))))))))))
-                                                                (String
-                                                                ((Ascii
-                                                                (true, true,
-                                                                true, true,
-                                                                false, false,
-                                                                true,
-                                                                false)),
-                                                                (String
-                                                                ((Ascii
-                                                                (false, true,
-                                                                false, false,
-                                                                true, true,
-                                                                true,
-                                                                false)),
-                                                                (String
-                                                                ((Ascii
-                                                                (true, false,
-                                                                false, true,
-                                                                false, true,
-                                                                true,
-                                                                false)),
-                                                                (String
-                                                                ((Ascii
-                                                                (true, true,
-                                                                true, false,
-                                                                false, true,
-                                                                true,
-                                                                false)),
-                                                                (String
-                                                                ((Ascii
-                                                                (true, false,
-                                                                false, true,
-                                                                false, true,
-                                                                true,
-                                                                false)),
-                                                                (String
-                                                                ((Ascii
-                                                                (false, true,
-                                                                true, true,
-                                                                false, true,
-                                                                true,
-                                                                false)),
-                                                                (String
-                                                                ((Ascii
-                                                                (true, false,
-                                                                false, false,
-                                                                false, true,
-                                                                true,
-                                                                false)),
-                                                                (String
-                                                                ((Ascii
-                                                                (false,
-                                                                false, true,
-                                                                false, true,
-                                                                true, true,
-                                                                false)),
-                                                                (String
-                                                                ((Ascii
-                                                                (true, true,
-                                                                true, true,
-                                                                false, true,
-                                                                true,
-                                                                false)),
-                                                                (String
-                                                                ((Ascii
-                                                                (false, true,
-                                                                false, false,
-                                                                true, true,
-                                                                true,
-                                                                false)),
-                                                                (String
-                                                                ((Ascii
-                                                                (true, false,
-                                                                false, true,
-                                                                false, false,
-                                                                true,
-                                                                false)),
-                                                                (String
-                                                                ((Ascii
-                                                                (false,
-                                                                false, true,
-                                                                false, false,
-                                                                true, true,
-                                                                false)),
-                                                                (String
-                                                                ((Ascii
-                                                                (true, false,
-                                                                true, false,
-                                                                false, true,
-                                                                true,
-                                                                false)),
-                                                                (String
-                                                                ((Ascii
-                                                                (false, true,
-                                                                true, true,
-                                                                false, true,
-                                                                true,
-                                                                false)),
-                                                                (String
-                                                                ((Ascii
-                                                                (false,
-                                                                false, true,
-                                                                false, true,
-                                                                true, true,
-                                                                false)),
-                                                                (String
-                                                                ((Ascii
-                                                                (true, false,
-                                                                false, true,
-                                                                false, true,
-                                                                true,
-                                                                false)),
-                                                                (String
-                                                                ((Ascii
-                                                                (false, true,
-                                                                true, false,
-                                                                false, true,
-                                                                true,
-                                                                false)),
-                                                                (String
-                                                                ((Ascii
-                                                                (true, false,
-                                                                false, true,
-                                                                false, true,
-                                                                true,
-                                                                false)),
-                                                                (String
-                                                                ((Ascii
-                                                                (true, true,
-                                                                false, false,
-                                                                false, true,
-                                                                true,
-                                                                false)),
-                                                                (String
-                                                                ((Ascii
-                                                                (true, false,
-                                                                false, false,
-                                                                false, true,
-                                                                true,
-                                                                false)),
-                                                                (String
-                                                                ((Ascii
-                                                                (false,
-                                                                false, true,
-                                                                false, true,
-                                                                true, true,
-                                                                false)),
-                                                                (String
-                                                                ((Ascii
-                                                                (true, false,
-                                                                false, true,
-                                                                false, true,
-                                                                true,
-                                                                false)),
-                                                                (String
-                                                                ((Ascii
-                                                                (true, true,
-                                                                true, true,
-                                                                false, true,
-                                                                true,
-                                                                false)),
-                                                                (String
-                                                                ((Ascii
-                                                                (false, true,
-                                                                true, true,
-                                                                false, true,
-                                                                true,
-                                                                false)),
-                                                                EmptyString))))))))))))))))))))))))))))))))))))))))))))))))
-                                                                ((String
-                                                                ((Ascii
-                                                                (false,
-                                                                false, false,
-                                                                false, true,
-                                                                true, true,
-                                                                false)),
-                                                                (String
-                                                                ((Ascii
-                                                                (true, false,
-                                                                false, false,
-                                                                false, true,
-                                                                true,
-                                                                false)),
-                                                                (String
-                                                                ((Ascii
-                                                                (false, true,
-                                                                false, false,
-                                                                true, true,
-                                                                true,
-                                                                false)),
-                                                                (String
-                                                                ((Ascii
-                                                                (true, true,
-                                                                false, false,
-                                                                true, true,
-                                                                true,
-                                                                false)),
-                                                                (String
-                                                                ((Ascii
-                                                                (true, false,
-                                                                true, false,
-                                                                false, true,
-                                                                true,
-                                                                false)),
-                                                                (String
-                                                                ((Ascii
-                                                                (true, true,
-                                                                false, false,
-                                                                true, false,
-                                                                true,
-                                                                false)),
-                                                                (String
-                                                                ((Ascii
-                                                                (false,
-                                                                false, true,
-                                                                false, true,
-                                                                true, true,
-                                                                false)),
-                                                                (String
-                                                                ((Ascii
-                                                                (false, true,
-                                                                false, false,
-                                                                true, true,
-                                                                true,
-                                                                false)),
-                                                                (String
-                                                                ((Ascii
-                                                                (true, false,
-                                                                false, true,
-                                                                false, true,
-                                                                true,
-                                                                false)),
-                                                                (String
-                                                                ((Ascii
-                                                                (false, true,
-                                                                true, true,
-                                                                false, true,
-                                                                true,
-                                                                false)),
-                                                                (String
-                                                                ((Ascii
-                                                                (true, true,
-                                                                true, false,
-                                                                false, true,
-                                                                true,
-                                                                false)),
-                                                                (String
-                                                                ((Ascii
-                                                                (false, true,
-                                                                true, false,
-                                                                false, false,
-                                                                true,
-                                                                false)),
-                                                                (String
-                                                                ((Ascii
-                                                                (true, false,
-                                                                false, true,
-                                                                false, true,
-                                                                true,
-                                                                false)),
-                                                                (String
-                                                                ((Ascii
-                                                                (true, false,
-                                                                true, false,
-                                                                false, true,
-                                                                true,
-                                                                false)),
-                                                                (String
-                                                                ((Ascii
-                                                                (false,
-                                                                false, true,
-                                                                true, false,
-                                                                true, true,
-                                                                false)),
-                                                                (String
-                                                                ((Ascii
-                                                                (false,
-                                                                false, true,
-                                                                false, false,
-                                                                true, true,
-                                                                false)),
-                                                                EmptyString)))))))))))))))))))))))))))))))) :: [])) :: (
-    (mkcut (S (S (S (S (S (S (S (S (S (S (S (S (S (S (S (S (S (S (S (S (S (S
-      (S (S (S (S (S (S (S (S (S (S (S (S (S (S (S (S (S (S (S (S (S (S (S (S
-      (S (S (S (S O)))))))))))))))))))))))))))))))))))))))))))))))))) (S (S
-      (S (S (S (S (S (S (S (S (S (S (S (S (S (S (S (S (S (S (S (S (S (S (S (S
-      (S (S (S (S (S (S (S (S (S (S (S (S (S (S (S (S (S (S (S (S (S (S (S (S
-      (S (S (S O))))))))))))))))))))))))))))))))))))))))))))))))))))) (String
-      ((Ascii (true, true, false, false, true, false, true, false)), (String
-      ((Ascii (false, false, true, false, true, true, true, false)), (String
-      ((Ascii (true, false, false, false, false, true, true, false)), (String
-      ((Ascii (false, true, true, true, false, true, true, false)), (String
-      ((Ascii (false, false, true, false, false, true, true, false)), (String
-      ((Ascii (true, false, false, false, false, true, true, false)), (String
-      ((Ascii (false, true, false, false, true, true, true, false)), (String
-      ((Ascii (false, false, true, false, false, true, true, false)), (String
-      ((Ascii (true, false, true, false, false, false, true, false)), (String
-      ((Ascii (false, true, true, true, false, true, true, false)), (String
-      ((Ascii (false, false, true, false, true, true, true, false)), (String
-      ((Ascii (false, true, false, false, true, true, true, false)), (String
-      ((Ascii (true, false, false, true, true, true, true, false)), (String
-      ((Ascii (true, true, false, false, false, false, true, false)), (String
-      ((Ascii (false, false, true, true, false, true, true, false)), (String
-      ((Ascii (true, false, false, false, false, true, true, false)), (String
-      ((Ascii (true, true, false, false, true, true, true, false)), (String
-      ((Ascii (true, true, false, false, true, true, true, false)), (String
-      ((Ascii (true, true, false, false, false, false, true, false)), (String
-      ((Ascii (true, true, true, true, false, true, true, false)), (String
-      ((Ascii (false, false, true, false, false, true, true, false)), (String
-      ((Ascii (true, false, true, false, false, true, true, false)),
-      EmptyString)))))))))))))))))))))))))))))))))))))))))))) []) :: (
-    (mkcut (S (S (S (S (S (S (S (S (S (S (S (S (S (S (S (S (S (S (S (S (S (S
-      (S (S (S (S (S (S (S (S (S (S (S (S (S (S (S (S (S (S (S (S (S (S (S (S
-      (S (S (S (S (S (S (S
-      O))))))))))))))))))))))))))))))))))))))))))))))))))))) (S (S (S (S (S
-      (S (S (S (S (S (S (S (S (S (S (S (S (S (S (S (S (S (S (S (S (S (S (S (S
-      (S (S (S (S (S (S (S (S (S (S (S (S (S (S (S (S (S (S (S (S (S (S (S (S
-      (S (S (S (S (S (S (S (S (S (S
-      O)))))))))))))))))))))))))))))))))))))))))))))))))))))))))))))))
-      (String ((Ascii (true, true, false, false, false, false, true, false)),
-      (String ((Ascii (true, true, true, true, false, true, true, false)),
-      (String ((Ascii (true, false, true, true, false, true, true, false)),
-      (String ((Ascii (false, false, false, false, true, true, true, false)),
-      (String ((Ascii (true, false, false, false, false, true, true, false)),
-      (String ((Ascii (false, true, true, true, false, true, true, false)),
-      (String ((Ascii (true, false, false, true, true, true, true, false)),
-      (String ((Ascii (true, false, true, false, false, false, true, false)),
-      (String ((Ascii (false, true, true, true, false, true, true, false)),
-      (String ((Ascii (false, false, true, false, true, true, true, false)),
-      (String ((Ascii (false, true, false, false, true, true, true, false)),
-      (String ((Ascii (true, false, false, true, true, true, true, false)),
-      (String ((Ascii (false, false, true, false, false, false, true,
-      false)), (String ((Ascii (true, false, true, false, false, true, true,
-      false)), (String ((Ascii (true, true, false, false, true, true, true,
-      false)), (String ((Ascii (true, true, false, false, false, true, true,
-      false)), (String ((Ascii (false, true, false, false, true, true, true,
-      false)), (String ((Ascii (true, false, false, true, false, true, true,
-      false)), (String ((Ascii (false, false, false, false, true, true, true,
-      false)), (String ((Ascii (false, false, true, false, true, true, true,
-      false)), (String ((Ascii (true, false, false, true, false, true, true,
-      false)), (String ((Ascii (true, true, true, true, false, true, true,
-      false)), (String ((Ascii (false, true, true, true, false, true, true,
-      false)), EmptyString))))))))))))))))))))))))))))))))))))))))))))))
-      ((String ((Ascii (true, true, false, false, true, true, true, false)),
-      (String ((Ascii (false, false, true, false, true, true, true, false)),
-      (String ((Ascii (false, true, false, false, true, true, true, false)),
-      (String ((Ascii (true, false, false, true, false, true, true, false)),
-      (String ((Ascii (false, true, true, true, false, true, true, false)),
-      (String ((Ascii (true, true, true, false, false, true, true, false)),
-      (String ((Ascii (true, true, false, false, true, true, true, false)),
-      (String ((Ascii (false, true, true, true, false, true, false, false)),
-      (String ((Ascii (false, false, true, false, true, false, true, false)),
-      (String ((Ascii (false, true, false, false, true, true, true, false)),
-      (String ((Ascii (true, false, false, true, false, true, true, false)),
-      (String ((Ascii (true, false, true, true, false, true, true, false)),
-      (String ((Ascii (true, true, false, false, true, false, true, false)),
-      (String ((Ascii (false, false, false, false, true, true, true, false)),
-      (String ((Ascii (true, false, false, false, false, true, true, false)),
-      (String ((Ascii (true, true, false, false, false, true, true, false)),
-      (String ((Ascii (true, false, true, false, false, true, true, false)),
-      EmptyString)))))))))))))))))))))))))))))))))) :: [])) :: ((mkcut (S (S
-                                                                  (S (S (S (S
-                                                                  (S (S (S (S
-                                                                  (S (S (S (S
-                                                                  (S (S (S (S
-                                                                  (S (S (S (S
-                                                                  (S (S (S (S
-                                                                  (S (S (S (S
-                                                                  (S (S (S (S
-                                                                  (S (S (S (S
-                                                                  (S (S (S (S
-                                                                  (S (S (S (S
-                                                                  (S (S (S (S
-                                                                  (S (S (S (S
-                                                                  (S (S (S (S
-                                                                  (S (S (S (S
-                                                                  (S
-                                                                  O)))))))))))))))))))))))))))))))))))))))))))))))))))))))))))))))
-                                                                  (S (S (S (S
-                                                                  (S (S (S (S
-                                                                  (S (S (S (S
-                                                                  (S (S (S (S
-                                                                  (S (S (S (S
-                                                                  (S (S (S (S
-                                                                  (S (S (S (S
-                                                                  (S (S (S (S
-                                                                  (S (S (S (S
-                                                                  (S (S (S (S
-                                                                  (S (S (S (S
-                                                                  (S (S (S (S
-                                                                  (S (S (S (S
-                                                                  (S (S (S (S
-                                                                  (S (S (S (S
-                                                                  (S (S (S (S
-                                                                  (S (S
-                                                                  O))))))))))))))))))))))))))))))))))))))))))))))))))))))))))))))))))
-                                                                  (String
-                                                                  ((Ascii
-                                                                  (true,
-                                                                  false,
-                                                                  false,
-                                                                  true,
-                                                                  false,
-                                                                  false,
-                                                                  true,
-                                                                  false)),
-                                                                  (String
-                                                                  ((Ascii
-                                                                  (true,
-                                                                  true,
-                                                                  false,
-                                                                  false,
-                                                                  true,
-                                                                  false,
-                                                                  true,
-                                                                  false)),
-                                                                  (String
-                                                                  ((Ascii
-                                                                  (true,
-                                                                  true, true,
-                                                                  true,
-                                                                  false,
-                                                                  false,
-                                                                  true,
-                                                                  false)),
-                                                                  (String
-                                                                  ((Ascii
-                                                                  (true,
-                                                                  true, true,
-                                                                  true,
-                                                                  false,
-                                                                  false,
-                                                                  true,
-                                                                  false)),
-                                                                  (String
-                                                                  ((Ascii
-                                                                  (false,
-                                                                  true,
-                                                                  false,
-                                                                  false,
-                                                                  true, true,
-                                                                  true,
-                                                                  false)),
-                                                                  (String
-                                                                  ((Ascii
-                                                                  (true,
-                                                                  false,
-                                                                  false,
-                                                                  true,
-                                                                  false,
-                                                                  true, true,
-                                                                  false)),
-                                                                  (String
-                                                                  ((Ascii
-                                                                  (true,
-                                                                  true, true,
-                                                                  false,
-                                                                  false,
-                                                                  true, true,
-                                                                  false)),
-                                                                  (String
-                                                                  ((Ascii
-                                                                  (true,
-                                                                  false,
-                                                                  false,
-                                                                  true,
-                                                                  false,
-                                                                  true, true,
-                                                                  false)),
-                                                                  (String
-                                                                  ((Ascii
-                                                                  (false,
-                                                                  true, true,
-                                                                  true,
-                                                                  false,
-                                                                  true, true,
-                                                                  false)),
-                                                                  (String
-                                                                  ((Ascii
-                                                                  (true,
-                                                                  false,
-                                                                  false,
-                                                                  false,
-                                                                  false,
-                                                                  true, true,
-                                                                  false)),
-                                                                  (String
-                                                                  ((Ascii
-                                                                  (false,
-                                                                  false,
-                                                                  true,
-                                                                  false,
-                                                                  true, true,
-                                                                  true,
-                                                                  false)),
-                                                                  (String
-                                                                  ((Ascii
-                                                                  (true,
-                                                                  false,
-                                                                  false,
-                                                                  true,
-                                                                  false,
-                                                                  true, true,
-                                                                  false)),
-                                                                  (String
-                                                                  ((Ascii
-                                                                  (false,
-                                                                  true, true,
-                                                                  true,
-                                                                  false,
-                                                                  true, true,
-                                                                  false)),
-                                                                  (String
-                                                                  ((Ascii
-                                                                  (true,
-                                                                  true, true,
-                                                                  false,
-                                                                  false,
-                                                                  true, true,
-                                                                  false)),
-                                                                  (String
-                                                                  ((Ascii
-                                                                  (true,
-                                                                  true,
-                                                                  false,
-                                                                  false,
-                                                                  false,
-                                                                  false,
-                                                                  true,
-                                                                  false)),
-                                                                  (String
-                                                                  ((Ascii
-                                                                  (true,
-                                                                  false,
-                                                                  true,
-                                                                  false,
-                                                                  true, true,
-                                                                  true,
-                                                                  false)),
-                                                                  (String
-                                                                  ((Ascii
-                                                                  (false,
-                                                                  true,
-                                                                  false,
-                                                                  false,
-                                                                  true, true,
-                                                                  true,
-                                                                  false)),
-                                                                  (String
-                                                                  ((Ascii
-                                                                  (false,
-                                                                  true,
-                                                                  false,
-                                                                  false,
-                                                                  true, true,
-                                                                  true,
-                                                                  false)),
-                                                                  (String
-                                                                  ((Ascii
-                                                                  (true,
-                                                                  false,
-                                                                  true,
-                                                                  false,
-                                                                  false,
-                                                                  true, true,
-                                                                  false)),
-                                                                  (String
-                                                                  ((Ascii
-                                                                  (false,
-                                                                  true, true,
-                                                                  true,
-                                                                  false,
-                                                                  true, true,
-                                                                  false)),
-                                                                  (String
-                                                                  ((Ascii
-                                                                  (true,
-                                                                  true,
-                                                                  false,
-                                                                  false,
-                                                                  false,
-                                                                  true, true,
-                                                                  false)),
-                                                                  (String
-                                                                  ((Ascii
-                                                                  (true,
-                                                                  false,
-                                                                  false,
-                                                                  true, true,
-                                                                  true, true,
-                                                                  false)),
-                                                                  (String
-                                                                  ((Ascii
-                                                                  (true,
-                                                                  true,
-                                                                  false,
-                                                                  false,
-                                                                  false,
-                                                                  false,
-                                                                  true,
-                                                                  false)),
-                                                                  (String
-                                                                  ((Ascii
-                                                                  (true,
-                                                                  true, true,
-                                                                  true,
-                                                                  false,
-                                                                  true, true,
-                                                                  false)),
-                                                                  (String
-                                                                  ((Ascii
-                                                                  (false,
-                                                                  false,
-                                                                  true,
-                                                                  false,
-                                                                  false,
-                                                                  true, true,
-                                                                  false)),
-                                                                  (String
-                                                                  ((Ascii
-                                                                  (true,
-                                                                  false,
-                                                                  true,
-                                                                  false,
-                                                                  false,
-                                                                  true, true,
-                                                                  false)),
-                                                                  EmptyString))))))))))))))))))))))))))))))))))))))))))))))))))))
-                                                                  ((String
-                                                                  ((Ascii
-                                                                  (false,
-                                                                  false,
-                                                                  false,
-                                                                  false,
-                                                                  true, true,
-                                                                  true,
-                                                                  false)),
-                                                                  (String
-                                                                  ((Ascii
-                                                                  (true,
-                                                                  false,
-                                                                  false,
-                                                                  false,
-                                                                  false,
-                                                                  true, true,
-                                                                  false)),
-                                                                  (String
-                                                                  ((Ascii
-                                                                  (false,
-                                                                  true,
-                                                                  false,
-                                                                  false,
-                                                                  true, true,
-                                                                  true,
-                                                                  false)),
-                                                                  (String
-                                                                  ((Ascii
-                                                                  (true,
-                                                                  true,
-                                                                  false,
-                                                                  false,
-                                                                  true, true,
-                                                                  true,
-                                                                  false)),
-                                                                  (String
-                                                                  ((Ascii
-                                                                  (true,
-                                                                  false,
-                                                                  true,
-                                                                  false,
-                                                                  false,
-                                                                  true, true,
-                                                                  false)),
-                                                                  (String
-                                                                  ((Ascii
-                                                                  (true,
-                                                                  true,
-                                                                  false,
-                                                                  false,
-                                                                  true,
-                                                                  false,
-                                                                  true,
-                                                                  false)),
-                                                                  (String
-                                                                  ((Ascii
-                                                                  (false,
-                                                                  false,
-                                                                  true,
-                                                                  false,
-                                                                  true, true,
-                                                                  true,
-                                                                  false)),
-                                                                  (String
-                                                                  ((Ascii
-                                                                  (false,
-                                                                  true,
-                                                                  false,
-                                                                  false,
-                                                                  true, true,
-                                                                  true,
-                                                                  false)),
-                                                                  (String
-                                                                  ((Ascii
-                                                                  (true,
-                                                                  false,
-                                                                  false,
-                                                                  true,
-                                                                  false,
-                                                                  true, true,
-                                                                  false)),
-                                                                  (String
-                                                                  ((Ascii
-                                                                  (false,
-                                                                  true, true,
-                                                                  true,
-                                                                  false,
-                                                                  true, true,
-                                                                  false)),
-                                                                  (String
-                                                                  ((Ascii
-                                                                  (true,
-                                                                  true, true,
-                                                                  false,
-                                                                  false,
-                                                                  true, true,
-                                                                  false)),
-                                                                  (String
-                                                                  ((Ascii
-                                                                  (false,
-                                                                  true, true,
-                                                                  false,
-                                                                  false,
-                                                                  false,
-                                                                  true,
-                                                                  false)),
-                                                                  (String
-                                                                  ((Ascii
-                                                                  (true,
-                                                                  false,
-                                                                  false,
-                                                                  true,
-                                                                  false,
-                                                                  true, true,
-                                                                  false)),
-                                                                  (String
-                                                                  ((Ascii
-                                                                  (true,
-                                                                  false,
-                                                                  true,
-                                                                  false,
-                                                                  false,
-                                                                  true, true,
-                                                                  false)),
-                                                                  (String
-                                                                  ((Ascii
-                                                                  (false,
-                                                                  false,
-                                                                  true, true,
-                                                                  false,
-                                                                  true, true,
-                                                                  false)),
-                                                                  (String
-                                                                  ((Ascii
-                                                                  (false,
-                                                                  false,
-                                                                  true,
-                                                                  false,
-                                                                  false,
-                                                                  true, true,
-                                                                  false)),
-                                                                  EmptyString)))))))))))))))))))))))))))))))) :: [])) :: (
-    (mkcut (S (S (S (S (S (S (S (S (S (S (S (S (S (S (S (S (S (S (S (S (S (S
-      (S (S (S (S (S (S (S (S (S (S (S (S (S (S (S (S (S (S (S (S (S (S (S (S
-      (S (S (S (S (S (S (S (S (S (S (S (S (S (S (S (S (S (S (S (S
-      O)))))))))))))))))))))))))))))))))))))))))))))))))))))))))))))))))) (S
-      (S (S (S (S (S (S (S (S (S (S (S (S (S (S (S (S (S (S (S (S (S (S (S (S
-      (S (S (S (S (S (S (S (S (S (S (S (S (S (S (S (S (S (S (S (S (S (S (S (S
-      (S (S (S (S (S (S (S (S (S (S (S (S (S (S (S (S (S (S (S (S
-      O)))))))))))))))))))))))))))))))))))))))))))))))))))))))))))))))))))))
-      (String ((Ascii (true, false, false, true, false, false, true, false)),
-      (String ((Ascii (true, true, false, false, true, false, true, false)),
-      (String ((Ascii (true, true, true, true, false, false, true, false)),
-      (String ((Ascii (false, false, true, false, false, false, true,
-      false)), (String ((Ascii (true, false, true, false, false, true, true,
-      false)), (String ((Ascii (true, true, false, false, true, true, true,
-      false)), (String ((Ascii (false, false, true, false, true, true, true,
-      false)), (String ((Ascii (true, false, false, true, false, true, true,
-      false)), (String ((Ascii (false, true, true, true, false, true, true,
-      false)), (String ((Ascii (true, false, false, false, false, true, true,
-      false)), (String ((Ascii (false, false, true, false, true, true, true,
-      false)), (String ((Ascii (true, false, false, true, false, true, true,
-      false)), (String ((Ascii (true, true, true, true, false, true, true,
-      false)), (String ((Ascii (false, true, true, true, false, true, true,
-      false)), (String ((Ascii (true, true, false, false, false, false, true,
-      false)), (String ((Ascii (true, false, true, false, true, true, true,
-      false)), (String ((Ascii (false, true, false, false, true, true, true,
-      false)), (String ((Ascii (false, true, false, false, true, true, true,
-      false)), (String ((Ascii (true, false, true, false, false, true, true,
-      false)), (String ((Ascii (false, true, true, true, false, true, true,
-      false)), (String ((Ascii (true, true, false, false, false, true, true,
-      false)), (String ((Ascii (true, false, false, true, true, true, true,
-      false)), (String ((Ascii (true, true, false, false, false, false, true,
-      false)), (String ((Ascii (true, true, true, true, false, true, true,
-      false)), (String ((Ascii (false, false, true, false, false, true, true,
-      false)), (String ((Ascii (true, false, true, false, false, true, true,
-      false)),
-      EmptyString))))))))))))))))))))))))))))))))))))))))))))))))))))
-      ((String ((Ascii (false, false, false, false, true, true, true,
-      false)), (String ((Ascii (true, false, false, false, false, true, true,
-      false)), (String ((Ascii (false, true, false, false, true, true, true,
-      false)), (String ((Ascii (true, true, false, false, true, true, true,
-      false)), (String ((Ascii (true, false, true, false, false, true, true,
-      false)), (String ((Ascii (true, true, false, false, true, false, true,
-      false)), (String ((Ascii (false, false, true, false, true, true, true,
-      false)), (String ((Ascii (false, true, false, false, true, true, true,
-      false)), (String ((Ascii (true, false, false, true, false, true, true,
-      false)), (String ((Ascii (false, true, true, true, false, true, true,
-      false)), (String ((Ascii (true, true, true, false, false, true, true,
-      false)), (String ((Ascii (false, true, true, false, false, false, true,
-      false)), (String ((Ascii (true, false, false, true, false, true, true,
-      false)), (String ((Ascii (true, false, true, false, false, true, true,
-      false)), (String ((Ascii (false, false, true, true, false, true, true,
-      false)), (String ((Ascii (false, false, true, false, false, true, true,
-      false)), EmptyString)))))))))))))))))))))))))))))))) :: [])) :: (
-    (mkcut (S (S (S (S (S (S (S (S (S (S (S (S (S (S (S (S (S (S (S (S (S (S
-      (S (S (S (S (S (S (S (S (S (S (S (S (S (S (S (S (S (S (S (S (S (S (S (S
-      (S (S (S (S (S (S (S (S (S (S (S (S (S (S (S (S (S (S (S (S (S (S (S
-      O)))))))))))))))))))))))))))))))))))))))))))))))))))))))))))))))))))))
-      (S (S (S (S (S (S (S (S (S (S (S (S (S (S (S (S (S (S (S (S (S (S (S (S
-      (S (S (S (S (S (S (S (S (S (S (S (S (S (S (S (S (S (S (S (S (S (S (S (S
-      (S (S (S (S (S (S (S (S (S (S (S (S (S (S (S (S (S (S (S (S (S (S (S (S
-      (S (S (S
-      O)))))))))))))))))))))))))))))))))))))))))))))))))))))))))))))))))))))))))))
-      (String ((Ascii (true, false, true, false, false, false, true, false)),
-      (String ((Ascii (false, true, true, false, false, true, true, false)),
-      (String ((Ascii (false, true, true, false, false, true, true, false)),
-      (String ((Ascii (true, false, true, false, false, true, true, false)),
-      (String ((Ascii (true, true, false, false, false, true, true, false)),
-      (String ((Ascii (false, false, true, false, true, true, true, false)),
-      (String ((Ascii (true, false, false, true, false, true, true, false)),
-      (String ((Ascii (false, true, true, false, true, true, true, false)),
-      (String ((Ascii (true, false, true, false, false, true, true, false)),
-      (String ((Ascii (true, false, true, false, false, false, true, false)),
-      (String ((Ascii (false, true, true, true, false, true, true, false)),
-      (String ((Ascii (false, false, true, false, true, true, true, false)),
-      (String ((Ascii (false, true, false, false, true, true, true, false)),
-      (String ((Ascii (true, false, false, true, true, true, true, false)),
-      (String ((Ascii (false, false, true, false, false, false, true,
-      false)), (String ((Ascii (true, false, false, false, false, true, true,
-      false)), (String ((Ascii (false, false, true, false, true, true, true,
-      false)), (String ((Ascii (true, false, true, false, false, true, true,
-      false)), EmptyString)))))))))))))))))))))))))))))))))))) ((String
-      ((Ascii (false, true, true, false, true, true, true, false)), (String
-      ((Ascii (true, false, false, false, false, true, true, false)), (String
-      ((Ascii (false, false, true, true, false, true, true, false)), (String
-      ((Ascii (true, false, false, true, false, true, true, false)), (String
-      ((Ascii (false, false, true, false, false, true, true, false)), (String
-      ((Ascii (true, false, false, false, false, true, true, false)), (String
-      ((Ascii (false, false, true, false, true, true, true, false)), (String
-      ((Ascii (true, false, true, false, false, true, true, false)), (String
-      ((Ascii (true, true, false, false, true, false, true, false)), (String
-      ((Ascii (true, false, false, true, false, true, true, false)), (String
-      ((Ascii (true, false, true, true, false, true, true, false)), (String
-      ((Ascii (false, false, false, false, true, true, true, false)), (String
-      ((Ascii (false, false, true, true, false, true, true, false)), (String
-      ((Ascii (true, false, true, false, false, true, true, false)), (String
-      ((Ascii (false, false, true, false, false, false, true, false)),
-      (String ((Ascii (true, false, false, false, false, true, true, false)),
-      (String ((Ascii (false, false, true, false, true, true, true, false)),
-      (String ((Ascii (true, false, true, false, false, true, true, false)),
-      EmptyString)))))))))))))))))))))))))))))))))))) :: [])) :: ((mkcut (S
-                                                                    (S (S (S
-                                                                    (S (S (S
-                                                                    (S (S (S
-                                                                    (S (S (S
-                                                                    (S (S (S
-                                                                    (S (S (S
-                                                                    (S (S (S
-                                                                    (S (S (S
-                                                                    (S (S (S
-                                                                    (S (S (S
-                                                                    (S (S (S
-                                                                    (S (S (S
-                                                                    (S (S (S
-                                                                    (S (S (S
-                                                                    (S (S (S
-                                                                    (S (S (S
-                                                                    (S (S (S
-                                                                    (S (S (S
-                                                                    (S (S (S
-                                                                    (S (S (S
-                                                                    (S (S (S
-                                                                    (S (S (S
-                                                                    (S (S (S
-                                                                    (S (S (S
-                                                                    (S (S
-                                                                    O)))))))))))))))))))))))))))))))))))))))))))))))))))))))))))))))))))))))))))
-                                                                    (S (S (S
-                                                                    (S (S (S
-                                                                    (S (S (S
-                                                                    (S (S (S
-                                                                    (S (S (S
-                                                                    (S (S (S
-                                                                    (S (S (S
-                                                                    (S (S (S
-                                                                    (S (S (S
-                                                                    (S (S (S
-                                                                    (S (S (S
-                                                                    (S (S (S
-                                                                    (S (S (S
-                                                                    (S (S (S
-                                                                    (S (S (S
-                                                                    (S (S (S
-                                                                    (S (S (S
-                                                                    (S (S (S
-                                                                    (S (S (S
-                                                                    (S (S (S
-                                                                    (S (S (S
-                                                                    (S (S (S
-                                                                    (S (S (S
-                                                                    (S (S (S
-                                                                    (S (S (S
-                                                                    (S (S (S
-                                                                    O))))))))))))))))))))))))))))))))))))))))))))))))))))))))))))))))))))))))))))))
-                                                                    (String
-                                                                    ((Ascii
-                                                                    (true,
-                                                                    true,
-                                                                    false,
-                                                                    false,
-                                                                    true,
-                                                                    false,
-                                                                    true,
-                                                                    false)),
-                                                                    (String
-                                                                    ((Ascii
-                                                                    (true,
-                                                                    false,
-                                                                    true,
-                                                                    false,
-                                                                    false,
-                                                                    true,
-                                                                    true,
-                                                                    false)),
-                                                                    (String
-                                                                    ((Ascii
-                                                                    (false,
-                                                                    false,
-                                                                    true,
-                                                                    false,
-                                                                    true,
-                                                                    true,
-                                                                    true,
-                                                                    false)),
-                                                                    (String
-                                                                    ((Ascii
-                                                                    (false,
-                                                                    false,
-                                                                    true,
-                                                                    false,
-                                                                    true,
-                                                                    true,
-                                                                    true,
-                                                                    false)),
-                                                                    (String
-                                                                    ((Ascii
-                                                                    (false,
-                                                                    false,
-                                                                    true,
-                                                                    true,
-                                                                    false,
-                                                                    true,
-                                                                    true,
-                                                                    false)),
-                                                                    (String
-                                                                    ((Ascii
-                                                                    (true,
-                                                                    false,
-                                                                    true,
-                                                                    false,
-                                                                    false,
-                                                                    true,
-                                                                    true,
-                                                                    false)),
-                                                                    (String
-                                                                    ((Ascii
-                                                                    (true,
-                                                                    false,
-                                                                    true,
-                                                                    true,
-                                                                    false,
-                                                                    true,
-                                                                    true,
-                                                                    false)),
-                                                                    (String
-                                                                    ((Ascii
-                                                                    (true,
-                                                                    false,
-                                                                    true,
-                                                                    false,
-                                                                    false,
-                                                                    true,
-                                                                    true,
-                                                                    false)),
-                                                                    (String
-                                                                    ((Ascii
-                                                                    (false,
-                                                                    true,
-                                                                    true,
-                                                                    true,
-                                                                    false,
-                                                                    true,
-                                                                    true,
-                                                                    false)),
-                                                                    (String
-                                                                    ((Ascii
-                                                                    (false,
-                                                                    false,
-                                                                    true,
-                                                                    false,
-                                                                    true,
-                                                                    true,
-                                                                    true,
-                                                                    false)),
-                                                                    (String
-                                                                    ((Ascii
-                                                                    (false,
-                                                                    false,
-                                                                    true,
-                                                                    false,
-                                                                    false,
-                                                                    false,
-                                                                    true,
-                                                                    false)),
-                                                                    (String
-                                                                    ((Ascii
-                                                                    (true,
-                                                                    false,
-                                                                    false,
-                                                                    false,
-                                                                    false,
-                                                                    true,
-                                                                    true,
-                                                                    false)),
-                                                                    (String
-                                                                    ((Ascii
-                                                                    (false,
-                                                                    false,
-                                                                    true,
-                                                                    false,
-                                                                    true,
-                                                                    true,
-                                                                    true,
-                                                                    false)),
-                                                                    (String
-                                                                    ((Ascii
-                                                                    (true,
-                                                                    false,
-                                                                    true,
-                                                                    false,
-                                                                    false,
-                                                                    true,
-                                                                    true,
-                                                                    false)),
-                                                                    EmptyString))))))))))))))))))))))))))))
-                                                                    ((String
-                                                                    ((Ascii
-                                                                    (false,
-                                                                    true,
-                                                                    true,
-                                                                    false,
-                                                                    true,
-                                                                    true,
-                                                                    true,
-                                                                    false)),
-                                                                    (String
-                                                                    ((Ascii
-                                                                    (true,
-                                                                    false,
-                                                                    false,
-                                                                    false,
-                                                                    false,
-                                                                    true,
-                                                                    true,
-                                                                    false)),
-                                                                    (String
-                                                                    ((Ascii
-                                                                    (false,
-                                                                    false,
-                                                                    true,
-                                                                    true,
-                                                                    false,
-                                                                    true,
-                                                                    true,
-                                                                    false)),
-                                                                    (String
-                                                                    ((Ascii
-                                                                    (true,
-                                                                    false,
-                                                                    false,
-                                                                    true,
-                                                                    false,
-                                                                    true,
-                                                                    true,
-                                                                    false)),
-                                                                    (String
-                                                                    ((Ascii
-                                                                    (false,
-                                                                    false,
-                                                                    true,
-                                                                    false,
-                                                                    false,
-                                                                    true,
-                                                                    true,
-                                                                    false)),
-                                                                    (String
-                                                                    ((Ascii
-                                                                    (true,
-                                                                    false,
-                                                                    false,
-                                                                    false,
-                                                                    false,
-                                                                    true,
-                                                                    true,
-                                                                    false)),
-                                                                    (String
-                                                                    ((Ascii
-                                                                    (false,
-                                                                    false,
-                                                                    true,
-                                                                    false,
-                                                                    true,
-                                                                    true,
-                                                                    true,
-                                                                    false)),
-                                                                    (String
-                                                                    ((Ascii
-                                                                    (true,
-                                                                    false,
-                                                                    true,
-                                                                    false,
-                                                                    false,
-                                                                    true,
-                                                                    true,
-                                                                    false)),
-                                                                    (String
-                                                                    ((Ascii
-                                                                    (true,
-                                                                    true,
-                                                                    false,
-                                                                    false,
-                                                                    true,
-                                                                    false,
-                                                                    true,
-                                                                    false)),
-                                                                    (String
-                                                                    ((Ascii
-                                                                    (true,
-                                                                    false,
-                                                                    true,
-                                                                    false,
-                                                                    false,
-                                                                    true,
-                                                                    true,
-                                                                    false)),
-                                                                    (String
-                                                                    ((Ascii
-                                                                    (false,
-                                                                    false,
-                                                                    true,
-                                                                    false,
-                                                                    true,
-                                                                    true,
-                                                                    true,
-                                                                    false)),
-                                                                    (String
-                                                                    ((Ascii
-                                                                    (false,
-                                                                    false,
-                                                                    true,
-                                                                    false,
-                                                                    true,
-                                                                    true,
-                                                                    true,
-                                                                    false)),
-                                                                    (String
-                                                                    ((Ascii
-                                                                    (false,
-                                                                    false,
-                                                                    true,
-                                                                    true,
-                                                                    false,
-                                                                    true,
-                                                                    true,
-                                                                    false)),
-                                                                    (String
-                                                                    ((Ascii
-                                                                    (true,
-                                                                    false,
-                                                                    true,
-                                                                    false,
-                                                                    false,
-                                                                    true,
-                                                                    true,
-                                                                    false)),
-                                                                    (String
-                                                                    ((Ascii
-                                                                    (true,
-                                                                    false,
-                                                                    true,
-                                                                    true,
-                                                                    false,
-                                                                    true,
-                                                                    true,
-                                                                    false)),
-                                                                    (String
-                                                                    ((Ascii
-                                                                    (true,
-                                                                    false,
-                                                                    true,
-                                                                    false,
-                                                                    false,
-                                                                    true,
-                                                                    true,
-                                                                    false)),
-                                                                    (String
-                                                                    ((Ascii
-                                                                    (false,
-                                                                    true,
-                                                                    true,
-                                                                    true,
-                                                                    false,
-                                                                    true,
-                                                                    true,
-                                                                    false)),
-                                                                    (String
-                                                                    ((Ascii
-                                                                    (false,
-                                                                    false,
-                                                                    true,
-                                                                    false,
-                                                                    true,
-                                                                    true,
-                                                                    true,
-                                                                    false)),
-                                                                    (String
-                                                                    ((Ascii
-                                                                    (false,
-                                                                    false,
-                                                                    true,
-                                                                    false,
-                                                                    false,
-                                                                    false,
-                                                                    true,
-                                                                    false)),
-                                                                    (String
-                                                                    ((Ascii
-                                                                    (true,
-                                                                    false,
-                                                                    false,
-                                                                    false,
-                                                                    false,
-                                                                    true,
-                                                                    true,
-                                                                    false)),
-                                                                    (String
-                                                                    ((Ascii
-                                                                    (false,
-                                                                    false,
-                                                                    true,
-                                                                    false,
-                                                                    true,
-                                                                    true,
-                                                                    true,
-                                                                    false)),
-                                                                    (String
-                                                                    ((Ascii
-                                                                    (true,
-                                                                    false,
-                                                                    true,
-                                                                    false,
-                                                                    false,
-                                                                    true,
-                                                                    true,
-                                                                    false)),
-                                                                    EmptyString)))))))))))))))))))))))))))))))))))))))))))) :: [])) :: (
-    (mkcut (S (S (S (S (S (S (S (S (S (S (S (S (S (S (S (S (S (S (S (S (S (S
-      (S (S (S (S (S (S (S (S (S (S (S (S (S (S (S (S (S (S (S (S (S (S (S (S
-      (S (S (S (S (S (S (S (S (S (S (S (S (S (S (S (S (S (S (S (S (S (S (S (S
-      (S (S (S (S (S (S (S (S
-      O))))))))))))))))))))))))))))))))))))))))))))))))))))))))))))))))))))))))))))))
-      (S (S (S (S (S (S (S (S (S (S (S (S (S (S (S (S (S (S (S (S (S (S (S (S
-      (S (S (S (S (S (S (S (S (S (S (S (S (S (S (S (S (S (S (S (S (S (S (S (S
-      (S (S (S (S (S (S (S (S (S (S (S (S (S (S (S (S (S (S (S (S (S (S (S (S
-      (S (S (S (S (S (S (S
-      O)))))))))))))))))))))))))))))))))))))))))))))))))))))))))))))))))))))))))))))))
-      (String ((Ascii (true, true, true, true, false, false, true, false)),
-      (String ((Ascii (false, true, false, false, true, true, true, false)),
-      (String ((Ascii (true, false, false, true, false, true, true, false)),
-      (String ((Ascii (true, true, true, false, false, true, true, false)),
-      (String ((Ascii (true, false, false, true, false, true, true, false)),
-      (String ((Ascii (false, true, true, true, false, true, true, false)),
-      (String ((Ascii (true, false, false, false, false, true, true, false)),
-      (String ((Ascii (false, false, true, false, true, true, true, false)),
-      (String ((Ascii (true, true, true, true, false, true, true, false)),
-      (String ((Ascii (false, true, false, false, true, true, true, false)),
-      (String ((Ascii (true, true, false, false, true, false, true, false)),
-      (String ((Ascii (false, false, true, false, true, true, true, false)),
-      (String ((Ascii (true, false, false, false, false, true, true, false)),
-      (String ((Ascii (false, false, true, false, true, true, true, false)),
-      (String ((Ascii (true, false, true, false, true, true, true, false)),
-      (String ((Ascii (true, true, false, false, true, true, true, false)),
-      (String ((Ascii (true, true, false, false, false, false, true, false)),
-      (String ((Ascii (true, true, true, true, false, true, true, false)),
-      (String ((Ascii (false, false, true, false, false, true, true, false)),
-      (String ((Ascii (true, false, true, false, false, true, true, false)),
-      EmptyString)))))))))))))))))))))))))))))))))))))))) ((String ((Ascii
-      (false, false, false, false, true, true, true, false)), (String ((Ascii
-      (true, false, false, false, false, true, true, false)), (String ((Ascii
-      (false, true, false, false, true, true, true, false)), (String ((Ascii
-      (true, true, false, false, true, true, true, false)), (String ((Ascii
-      (true, false, true, false, false, true, true, false)), (String ((Ascii
-      (false, true, true, true, false, false, true, false)), (String ((Ascii
-      (true, false, true, false, true, true, true, false)), (String ((Ascii
-      (true, false, true, true, false, true, true, false)), (String ((Ascii
-      (false, true, true, false, false, false, true, false)), (String ((Ascii
-      (true, false, false, true, false, true, true, false)), (String ((Ascii
-      (true, false, true, false, false, true, true, false)), (String ((Ascii
-      (false, false, true, true, false, true, true, false)), (String ((Ascii
-      (false, false, true, false, false, true, true, false)),
-      EmptyString)))))))))))))))))))))))))) :: [])) :: ((mkcut (S (S (S (S (S
-                                                          (S (S (S (S (S (S
-                                                          (S (S (S (S (S (S
-                                                          (S (S (S (S (S (S
-                                                          (S (S (S (S (S (S
-                                                          (S (S (S (S (S (S
-                                                          (S (S (S (S (S (S
-                                                          (S (S (S (S (S (S
-                                                          (S (S (S (S (S (S
-                                                          (S (S (S (S (S (S
-                                                          (S (S (S (S (S (S
-                                                          (S (S (S (S (S (S
-                                                          (S (S (S (S (S (S
-                                                          (S (S
-                                                          O)))))))))))))))))))))))))))))))))))))))))))))))))))))))))))))))))))))))))))))))
-                                                          (S (S (S (S (S (S
-                                                          (S (S (S (S (S (S
-                                                          (S (S (S (S (S (S
-                                                          (S (S (S (S (S (S
-                                                          (S (S (S (S (S (S
-                                                          (S (S (S (S (S (S
-                                                          (S (S (S (S (S (S
-                                                          (S (S (S (S (S (S
-                                                          (S (S (S (S (S (S
-                                                          (S (S (S (S (S (S
-                                                          (S (S (S (S (S (S
-                                                          (S (S (S (S (S (S
-                                                          (S (S (S (S (S (S
-                                                          (S (S (S (S (S (S
-                                                          (S (S (S
-                                                          O)))))))))))))))))))))))))))))))))))))))))))))))))))))))))))))))))))))))))))))))))))))))
-                                                          (String ((Ascii
-                                                          (true, true, true,
-                                                          true, false, false,
-                                                          true, false)),
-                                                          (String ((Ascii
-                                                          (false, false,
-                                                          true, false, false,
-                                                          false, true,
-                                                          false)), (String
-                                                          ((Ascii (false,
-                                                          true, true, false,
-                                                          false, false, true,
-                                                          false)), (String
-                                                          ((Ascii (true,
-                                                          false, false, true,
-                                                          false, false, true,
-                                                          false)), (String
-                                                          ((Ascii (true,
-                                                          false, false, true,
-                                                          false, false, true,
-                                                          false)), (String
-                                                          ((Ascii (false,
-                                                          false, true, false,
-                                                          false, true, true,
-                                                          false)), (String
-                                                          ((Ascii (true,
-                                                          false, true, false,
-                                                          false, true, true,
-                                                          false)), (String
-                                                          ((Ascii (false,
-                                                          true, true, true,
-                                                          false, true, true,
-                                                          false)), (String
-                                                          ((Ascii (false,
-                                                          false, true, false,
-                                                          true, true, true,
-                                                          false)), (String
-                                                          ((Ascii (true,
-                                                          false, false, true,
-                                                          false, true, true,
-                                                          false)), (String
-                                                          ((Ascii (false,
-                                                          true, true, false,
-                                                          false, true, true,
-                                                          false)), (String
-                                                          ((Ascii (true,
-                                                          false, false, true,
-                                                          false, true, true,
-                                                          false)), (String
-                                                          ((Ascii (true,
-                                                          true, false, false,
-                                                          false, true, true,
-                                                          false)), (String
-                                                          ((Ascii (true,
-                                                          false, false,
-                                                          false, false, true,
-                                                          true, false)),
-                                                          (String ((Ascii
-                                                          (false, false,
-                                                          true, false, true,
-                                                          true, true,
-                                                          false)), (String
-                                                          ((Ascii (true,
-                                                          false, false, true,
-                                                          false, true, true,
-                                                          false)), (String
-                                                          ((Ascii (true,
-                                                          true, true, true,
-                                                          false, true, true,
-                                                          false)), (String
-                                                          ((Ascii (false,
-                                                          true, true, true,
-                                                          false, true, true,
-                                                          false)),
-                                                          EmptyString))))))))))))))))))))))))))))))))))))
-                                                          ((String ((Ascii
-                                                          (false, false,
-                                                          false, false, true,
-                                                          true, true,
-                                                          false)), (String
-                                                          ((Ascii (true,
-                                                          false, false,
-                                                          false, false, true,
-                                                          true, false)),
-                                                          (String ((Ascii
-                                                          (false, true,
-                                                          false, false, true,
-                                                          true, true,
-                                                          false)), (String
-                                                          ((Ascii (true,
-                                                          true, false, false,
-                                                          true, true, true,
-                                                          false)), (String
-                                                          ((Ascii (true,
-                                                          false, true, false,
-                                                          false, true, true,
-                                                          false)), (String
-                                                          ((Ascii (true,
-                                                          true, false, false,
-                                                          true, false, true,
-                                                          false)), (String
-                                                          ((Ascii (false,
-                                                          false, true, false,
-                                                          true, true, true,
-                                                          false)), (String
-                                                          ((Ascii (false,
-                                                          true, false, false,
-                                                          true, true, true,
-                                                          false)), (String
-                                                          ((Ascii (true,
-                                                          false, false, true,
-                                                          false, true, true,
-                                                          false)), (String
-                                                          ((Ascii (false,
-                                                          true, true, true,
-                                                          false, true, true,
-                                                          false)), (String
-                                                          ((Ascii (true,
-                                                          true, true, false,
-                                                          false, true, true,
-                                                          false)), (String
-                                                          ((Ascii (false,
-                                                          true, true, false,
-                                                          false, false, true,
-                                                          false)), (String
-                                                          ((Ascii (true,
-                                                          false, false, true,
-                                                          false, true, true,
-                                                          false)), (String
-                                                          ((Ascii (true,
-                                                          false, true, false,
-                                                          false, true, true,
-                                                          false)), (String
-                                                          ((Ascii (false,
-                                                          false, true, true,
-                                                          false, true, true,
-                                                          false)), (String
-                                                          ((Ascii (false,
-                                                          false, true, false,
-                                                          false, true, true,
-                                                          false)),
-                                                          EmptyString)))))))))))))))))))))))))))))))) :: [])) :: (
-    (mkcut (S (S (S (S (S (S (S (S (S (S (S (S (S (S (S (S (S (S (S (S (S (S
-      (S (S (S (S (S (S (S (S (S (S (S (S (S (S (S (S (S (S (S (S (S (S (S (S
-      (S (S (S (S (S (S (S (S (S (S (S (S (S (S (S (S (S (S (S (S (S (S (S (S
-      (S (S (S (S (S (S (S (S (S (S (S (S (S (S (S (S (S
-      O)))))))))))))))))))))))))))))))))))))))))))))))))))))))))))))))))))))))))))))))))))))))
-      (S (S (S (S (S (S (S (S (S (S (S (S (S (S (S (S (S (S (S (S (S (S (S (S
-      (S (S (S (S (S (S (S (S (S (S (S (S (S (S (S (S (S (S (S (S (S (S (S (S
-      (S (S (S (S (S (S (S (S (S (S (S (S (S (S (S (S (S (S (S (S (S (S (S (S
-      (S (S (S (S (S (S (S (S (S (S (S (S (S (S (S (S (S (S (S (S (S (S
-      O))))))))))))))))))))))))))))))))))))))))))))))))))))))))))))))))))))))))))))))))))))))))))))))
-      (String ((Ascii (false, true, false, false, false, false, true,
-      false)), (String ((Ascii (true, false, false, false, false, true, true,
-      false)), (String ((Ascii (false, false, true, false, true, true, true,
-      false)), (String ((Ascii (true, true, false, false, false, true, true,
-      false)), (String ((Ascii (false, false, false, true, false, true, true,
-      false)), (String ((Ascii (false, true, true, true, false, false, true,
-      false)), (String ((Ascii (true, false, true, false, true, true, true,
-      false)), (String ((Ascii (true, false, true, true, false, true, true,
-      false)), (String ((Ascii (false, true, false, false, false, true, true,
-      false)), (String ((Ascii (true, false, true, false, false, true, true,
-      false)), (String ((Ascii (false, true, false, false, true, true, true,
-      false)), EmptyString)))))))))))))))))))))) ((String ((Ascii (false,
-      false, false, false, true, true, true, false)), (String ((Ascii (true,
-      false, false, false, false, true, true, false)), (String ((Ascii
-      (false, true, false, false, true, true, true, false)), (String ((Ascii
-      (true, true, false, false, true, true, true, false)), (String ((Ascii
-      (true, false, true, false, false, true, true, false)), (String ((Ascii
-      (false, true, true, true, false, false, true, false)), (String ((Ascii
-      (true, false, true, false, true, true, true, false)), (String ((Ascii
-      (true, false, true, true, false, true, true, false)), (String ((Ascii
-      (false, true, true, false, false, false, true, false)), (String ((Ascii
-      (true, false, false, true, false, true, true, false)), (String ((Ascii
-      (true, false, true, false, false, true, true, false)), (String ((Ascii
-      (false, false, true, true, false, true, true, false)), (String ((Ascii
-      (false, false, true, false, false, true, true, false)),
-      EmptyString)))))))))))))))))))))))))) :: [])) :: []))))))))))))))))) }
-
-(** val l_IATEntryDetail : layout **)
-
-let l_IATEntryDetail =
-  { l_name = (String ((Ascii (true, false, false, true, false, false, true,
-    false)), (String ((Ascii (true, false, false, false, false, false, true,
-    false)), (String ((Ascii (false, false, true, false, true, false, true,
-    false)), (String ((Ascii (true, false, true, false, false, false, true,
-    false)), (String ((Ascii (false, true, true, true, false, true, true,
-    false)), (String ((Ascii (false, false, true, false, true, true, true,
-    false)), (String ((Ascii (false, true, false, false, true, true, true,
-    false)), (String ((Ascii (true, false, false, true, true, true, true,
-    false)), (String ((Ascii (false, false, true, false, false, false, true,
-    false)), (String ((Ascii (true, false, true, false, false, true, true,
-    false)), (String ((Ascii (false, false, true, false, true, true, true,
-    false)), (String ((Ascii (true, false, false, false, false, true, true,
-    false)), (String ((Ascii (true, false, false, true, false, true, true,
-    false)), (String ((Ascii (false, false, true, true, false, true, true,
-    false)), EmptyString)))))))))))))))))))))))))))); l_ix = IRune; l_segs =
-    ((SLit ((Npos (XO (XI (XI (XO (XI XH)))))) :: [])) :: ((SItoa (String
-    ((Ascii (false, false, true, false, true, false, true, false)), (String
-    ((Ascii (false, true, false, false, true, true, true, false)), (String
-    ((Ascii (true, false, false, false, false, true, true, false)), (String
-    ((Ascii (false, true, true, true, false, true, true, false)), (String
-    ((Ascii (true, true, false, false, true, true, true, false)), (String
-    ((Ascii (true, false, false, false, false, true, true, false)), (String
-    ((Ascii (true, true, false, false, false, true, true, false)), (String
-    ((Ascii (false, false, true, false, true, true, true, false)), (String
-    ((Ascii (true, false, false, true, false, true, true, false)), (String
-    ((Ascii (true, true, true, true, false, true, true, false)), (String
-    ((Ascii (false, true, true, true, false, true, true, false)), (String
-    ((Ascii (true, true, false, false, false, false, true, false)), (String
-    ((Ascii (true, true, true, true, false, true, true, false)), (String
-    ((Ascii (false, false, true, false, false, true, true, false)), (String
-    ((Ascii (true, false, true, false, false, true, true, false)),
-    EmptyString))))))))))))))))))))))))))))))) :: ((SStr ((String ((Ascii
-    (false, true, false, false, true, false, true, false)), (String ((Ascii
-    (false, false, true, false, false, false, true, false)), (String ((Ascii
-    (false, true, true, false, false, false, true, false)), (String ((Ascii
-    (true, false, false, true, false, false, true, false)), (String ((Ascii
-    (true, false, false, true, false, false, true, false)), (String ((Ascii
-    (false, false, true, false, false, true, true, false)), (String ((Ascii
-    (true, false, true, false, false, true, true, false)), (String ((Ascii
-    (false, true, true, true, false, true, true, false)), (String ((Ascii
-    (false, false, true, false, true, true, true, false)), (String ((Ascii
-    (true, false, false, true, false, true, true, false)), (String ((Ascii
-    (false, true, true, false, false, true, true, false)), (String ((Ascii
-    (true, false, false, true, false, true, true, false)), (String ((Ascii
-    (true, true, false, false, false, true, true, false)), (String ((Ascii
-    (true, false, false, false, false, true, true, false)), (String ((Ascii
-    (false, false, true, false, true, true, true, false)), (String ((Ascii
-    (true, false, false, true, false, true, true, false)), (String ((Ascii
-    (true, true, true, true, false, true, true, false)), (String ((Ascii
-    (false, true, true, true, false, true, true, false)),
-    EmptyString)))))))))))))))))))))))))))))))))))), (S (S (S (S (S (S (S (S
-    O)))))))))) :: ((SRaw (String ((Ascii (true, true, false, false, false,
-    false, true, false)), (String ((Ascii (false, false, false, true, false,
-    true, true, false)), (String ((Ascii (true, false, true, false, false,
-    true, true, false)), (String ((Ascii (true, true, false, false, false,
-    true, true, false)), (String ((Ascii (true, true, false, true, false,
-    true, true, false)), (String ((Ascii (false, false, true, false, false,
-    false, true, false)), (String ((Ascii (true, false, false, true, false,
-    true, true, false)), (String ((Ascii (true, true, true, false, false,
-    true, true, false)), (String ((Ascii (true, false, false, true, false,
-    true, true, false)), (String ((Ascii (false, false, true, false, true,
-    true, true, false)), EmptyString))))))))))))))))))))) :: ((SNum ((String
-    ((Ascii (true, false, false, false, false, false, true, false)), (String
-    ((Ascii (false, false, true, false, false, true, true, false)), (String
-    ((Ascii (false, false, true, false, false, true, true, false)), (String
-    ((Ascii (true, false, true, false, false, true, true, false)), (String
-    ((Ascii (false, true, true, true, false, true, true, false)), (String
-    ((Ascii (false, false, true, false, false, true, true, false)), (String
-    ((Ascii (true, false, false, false, false, true, true, false)), (String
-    ((Ascii (false, true, false, false, true, false, true, false)), (String
-    ((Ascii (true, false, true, false, false, true, true, false)), (String
-    ((Ascii (true, true, false, false, false, true, true, false)), (String
-    ((Ascii (true, true, true, true, false, true, true, false)), (String
-    ((Ascii (false, true, false, false, true, true, true, false)), (String
-    ((Ascii (false, false, true, false, false, true, true, false)), (String
-    ((Ascii (true, true, false, false, true, true, true, false)),
-    EmptyString)))))))))))))))))))))))))))), (S (S (S (S O)))))) :: ((SLit
-    ((Npos (XO (XO (XO (XO (XO XH)))))) :: ((Npos (XO (XO (XO (XO (XO
-    XH)))))) :: ((Npos (XO (XO (XO (XO (XO XH)))))) :: ((Npos (XO (XO (XO (XO
-    (XO XH)))))) :: ((Npos (XO (XO (XO (XO (XO XH)))))) :: ((Npos (XO (XO (XO
-    (XO (XO XH)))))) :: ((Npos (XO (XO (XO (XO (XO XH)))))) :: ((Npos (XO (XO
-    (XO (XO (XO XH)))))) :: ((Npos (XO (XO (XO (XO (XO XH)))))) :: ((Npos (XO
-    (XO (XO (XO (XO XH)))))) :: ((Npos (XO (XO (XO (XO (XO XH)))))) :: ((Npos
-    (XO (XO (XO (XO (XO XH)))))) :: ((Npos (XO (XO (XO (XO (XO
-    XH)))))) :: [])))))))))))))) :: ((SNum ((String ((Ascii (true, false,
-    false, false, false, false, true, false)), (String ((Ascii (true, false,
-    true, true, false, true, true, false)), (String ((Ascii (true, true,
-    true, true, false, true, true, false)), (String ((Ascii (true, false,
-    true, false, true, true, true, false)), (String ((Ascii (false, true,
-    true, true, false, true, true, false)), (String ((Ascii (false, false,
-    true, false, true, true, true, false)), EmptyString)))))))))))), (S (S (S
-    (S (S (S (S (S (S (S O)))))))))))) :: ((SAlpha ((String ((Ascii (false,
-    false, true, false, false, false, true, false)), (String ((Ascii (false,
-    true, true, false, false, false, true, false)), (String ((Ascii (true,
-    false, false, true, false, false, true, false)), (String ((Ascii (true,
-    false, false, false, false, false, true, false)), (String ((Ascii (true,
-    true, false, false, false, true, true, false)), (String ((Ascii (true,
-    true, false, false, false, true, true, false)), (String ((Ascii (true,
-    true, true, true, false, true, true, false)), (String ((Ascii (true,
-    false, true, false, true, true, true, false)), (String ((Ascii (false,
-    true, true, true, false, true, true, false)), (String ((Ascii (false,
-    false, true, false, true, true, true, false)), (String ((Ascii (false,
-    true, true, true, false, false, true, false)), (String ((Ascii (true,
-    false, true, false, true, true, true, false)), (String ((Ascii (true,
-    false, true, true, false, true, true, false)), (String ((Ascii (false,
-    true, false, false, false, true, true, false)), (String ((Ascii (true,
-    false, true, false, false, true, true, false)), (String ((Ascii (false,
-    true, false, false, true, true, true, false)),
-    EmptyString)))))))))))))))))))))))))))))))), (S (S (S (S (S (S (S (S (S
-    (S (S (S (S (S (S (S (S (S (S (S (S (S (S (S (S (S (S (S (S (S (S (S (S
-    (S (S O))))))))))))))))))))))))))))))))))))) :: ((SLit ((Npos (XO (XO (XO
-    (XO (XO XH)))))) :: ((Npos (XO (XO (XO (XO (XO
-    XH)))))) :: []))) :: ((SAlpha ((String ((Ascii (true, true, true, true,
-    false, false, true, false)), (String ((Ascii (false, true, true, false,
-    false, false, true, false)), (String ((Ascii (true, false, false, false,
-    false, false, true, false)), (String ((Ascii (true, true, false, false,
-    false, false, true, false)), (String ((Ascii (true, true, false, false,
-    true, false, true, false)), (String ((Ascii (true, true, false, false,
-    false, true, true, false)), (String ((Ascii (false, true, false, false,
-    true, true, true, false)), (String ((Ascii (true, false, true, false,
-    false, true, true, false)), (String ((Ascii (true, false, true, false,
-    false, true, true, false)), (String ((Ascii (false, true, true, true,
-    false, true, true, false)), (String ((Ascii (true, false, false, true,
-    false, true, true, false)), (String ((Ascii (false, true, true, true,
-    false, true, true, false)), (String ((Ascii (true, true, true, false,
-    false, true, true, false)), (String ((Ascii (true, false, false, true,
-    false, false, true, false)), (String ((Ascii (false, true, true, true,
-    false, true, true, false)), (String ((Ascii (false, false, true, false,
-    false, true, true, false)), (String ((Ascii (true, false, false, true,
-    false, true, true, false)), (String ((Ascii (true, true, false, false,
-    false, true, true, false)), (String ((Ascii (true, false, false, false,
-    false, true, true, false)), (String ((Ascii (false, false, true, false,
-    true, true, true, false)), (String ((Ascii (true, true, true, true,
-    false, true, true, false)), (String ((Ascii (false, true, false, false,
-    true, true, true, false)),
-    EmptyString)))))))))))))))))))))))))))))))))))))))))))), (S
-    O))) :: ((SAlpha ((String ((Ascii (true, true, false, false, true, false,
-    true, false)), (String ((Ascii (true, false, true, false, false, true,
-    true, false)), (String ((Ascii (true, true, false, false, false, true,
-    true, false)), (String ((Ascii (true, true, true, true, false, true,
-    true, false)), (String ((Ascii (false, true, true, true, false, true,
-    true, false)), (String ((Ascii (false, false, true, false, false, true,
-    true, false)), (String ((Ascii (true, false, false, false, false, true,
-    true, false)), (String ((Ascii (false, true, false, false, true, true,
-    true, false)), (String ((Ascii (true, false, false, true, true, true,
-    true, false)), (String ((Ascii (true, true, true, true, false, false,
-    true, false)), (String ((Ascii (false, true, true, false, false, false,
-    true, false)), (String ((Ascii (true, false, false, false, false, false,
-    true, false)), (String ((Ascii (true, true, false, false, false, false,
-    true, false)), (String ((Ascii (true, true, false, false, true, false,
-    true, false)), (String ((Ascii (true, true, false, false, false, true,
-    true, false)), (String ((Ascii (false, true, false, false, true, true,
-    true, false)), (String ((Ascii (true, false, true, false, false, true,
-    true, false)), (String ((Ascii (true, false, true, false, false, true,
-    true, false)), (String ((Ascii (false, true, true, true, false, true,
-    true, false)), (String ((Ascii (true, false, false, true, false, true,
-    true, false)), (String ((Ascii (false, true, true, true, false, true,
-    true, false)), (String ((Ascii (true, true, true, false, false, true,
-    true, false)), (String ((Ascii (true, false, false, true, false, false,
-    true, false)), (String ((Ascii (false, true, true, true, false, true,
-    true, false)), (String ((Ascii (false, false, true, false, false, true,
-    true, false)), (String ((Ascii (true, false, false, true, false, true,
-    true, false)), (String ((Ascii (true, true, false, false, false, true,
-    true, false)), (String ((Ascii (true, false, false, false, false, true,
-    true, false)), (String ((Ascii (false, false, true, false, true, true,
-    true, false)), (String ((Ascii (true, true, true, true, false, true,
-    true, false)), (String ((Ascii (false, true, false, false, true, true,
-    true, false)),
-    EmptyString)))))))))))))))))))))))))))))))))))))))))))))))))))))))))))))),
-    (S O))) :: ((SItoa (String ((Ascii (true, false, false, false, false,
-    false, true, false)), (String ((Ascii (false, false, true, false, false,
-    true, true, false)), (String ((Ascii (false, false, true, false, false,
-    true, true, false)), (String ((Ascii (true, false, true, false, false,
-    true, true, false)), (String ((Ascii (false, true, true, true, false,
-    true, true, false)), (String ((Ascii (false, false, true, false, false,
-    true, true, false)), (String ((Ascii (true, false, false, false, false,
-    true, true, false)), (String ((Ascii (false, true, false, false, true,
-    false, true, false)), (String ((Ascii (true, false, true, false, false,
-    true, true, false)), (String ((Ascii (true, true, false, false, false,
-    true, true, false)), (String ((Ascii (true, true, true, true, false,
-    true, true, false)), (String ((Ascii (false, true, false, false, true,
-    true, true, false)), (String ((Ascii (false, false, true, false, false,
-    true, true, false)), (String ((Ascii (true, false, false, true, false,
-    false, true, false)), (String ((Ascii (false, true, true, true, false,
-    true, true, false)), (String ((Ascii (false, false, true, false, false,
-    true, true, false)), (String ((Ascii (true, false, false, true, false,
-    true, true, false)), (String ((Ascii (true, true, false, false, false,
-    true, true, false)), (String ((Ascii (true, false, false, false, false,
-    true, true, false)), (String ((Ascii (false, false, true, false, true,
-    true, true, false)), (String ((Ascii (true, true, true, true, false,
-    true, true, false)), (String ((Ascii (false, true, false, false, true,
-    true, true, false)),
-    EmptyString))))))))))))))))))))))))))))))))))))))))))))) :: ((SStr
-    ((String ((Ascii (false, false, true, false, true, false, true, false)),
-    (String ((Ascii (false, true, false, false, true, true, true, false)),
-    (String ((Ascii (true, false, false, false, false, true, true, false)),
-    (String ((Ascii (true, true, false, false, false, true, true, false)),
-    (String ((Ascii (true, false, true, false, false, true, true, false)),
-    (String ((Ascii (false, true, true, true, false, false, true, false)),
-    (String ((Ascii (true, false, true, false, true, true, true, false)),
-    (String ((Ascii (true, false, true, true, false, true, true, false)),
-    (String ((Ascii (false, true, false, false, false, true, true, false)),
-    (String ((Ascii (true, false, true, false, false, true, true, false)),
-    (String ((Ascii (false, true, false, false, true, true, true, false)),
-    EmptyString)))))))))))))))))))))), (S (S (S (S (S (S (S (S (S (S (S (S (S
-    (S (S O))))))))))))))))) :: []))))))))))))); l_cuts =
-    ((mkcut O (S O) EmptyString []) :: ((mkcut (S O) (S (S (S O))) (String
-                                          ((Ascii (false, false, true, false,
-                                          true, false, true, false)), (String
-                                          ((Ascii (false, true, false, false,
-                                          true, true, true, false)), (String
-                                          ((Ascii (true, false, false, false,
-                                          false, true, true, false)), (String
-                                          ((Ascii (false, true, true, true,
-                                          false, true, true, false)), (String
-                                          ((Ascii (true, true, false, false,
-                                          true, true, true, false)), (String
-                                          ((Ascii (true, false, false, false,
-                                          false, true, true, false)), (String
-                                          ((Ascii (true, true, false, false,
-                                          false, true, true, false)), (String
-                                          ((Ascii (false, false, true, false,
-                                          true, true, true, false)), (String
-                                          ((Ascii (true, false, false, true,
-                                          false, true, true, false)), (String
-                                          ((Ascii (true, true, true, true,
-                                          false, true, true, false)), (String
-                                          ((Ascii (false, true, true, true,
-                                          false, true, true, false)), (String
-                                          ((Ascii (true, true, false, false,
-                                          false, false, true, false)),
-                                          (String ((Ascii (true, true, true,
-                                          true, false, true, true, false)),
-                                          (String ((Ascii (false, false,
-                                          true, false, false, true, true,
-                                          false)), (String ((Ascii (true,
-                                          false, true, false, false, true,
-                                          true, false)),
-                                          EmptyString))))))))))))))))))))))))))))))
-                                          ((String ((Ascii (false, false,
-                                          false, false, true, true, true,
-                                          false)), (String ((Ascii (true,
-                                          false, false, false, false, true,
-                                          true, false)), (String ((Ascii
-                                          (false, true, false, false, true,
-                                          true, true, false)), (String
-                                          ((Ascii (true, true, false, false,
-                                          true, true, true, false)), (String
-                                          ((Ascii (true, false, true, false,
-                                          false, true, true, false)), (String
-                                          ((Ascii (false, true, true, true,
-                                          false, false, true, false)),
-                                          (String ((Ascii (true, false, true,
-                                          false, true, true, true, false)),
-                                          (String ((Ascii (true, false, true,
-                                          true, false, true, true, false)),
-                                          (String ((Ascii (false, true, true,
-                                          false, false, false, true, false)),
-                                          (String ((Ascii (true, false,
-                                          false, true, false, true, true,
-                                          false)), (String ((Ascii (true,
-                                          false, true, false, false, true,
-                                          true, false)), (String ((Ascii
-                                          (false, false, true, true, false,
-                                          true, true, false)), (String
-                                          ((Ascii (false, false, true, false,
-                                          false, true, true, false)),
-                                          EmptyString)))))))))))))))))))))))))) :: [])) :: (
-    (mkcut (S (S (S O))) (S (S (S (S (S (S (S (S (S (S (S O)))))))))))
-      (String ((Ascii (false, true, false, false, true, false, true, false)),
-      (String ((Ascii (false, false, true, false, false, false, true,
-      false)), (String ((Ascii (false, true, true, false, false, false, true,
-      false)), (String ((Ascii (true, false, false, true, false, false, true,
-      false)), (String ((Ascii (true, false, false, true, false, false, true,
-      false)), (String ((Ascii (false, false, true, false, false, true, true,
-      false)), (String ((Ascii (true, false, true, false, false, true, true,
-      false)), (String ((Ascii (false, true, true, true, false, true, true,
-      false)), (String ((Ascii (false, false, true, false, true, true, true,
-      false)), (String ((Ascii (true, false, false, true, false, true, true,
-      false)), (String ((Ascii (false, true, true, false, false, true, true,
-      false)), (String ((Ascii (true, false, false, true, false, true, true,
-      false)), (String ((Ascii (true, true, false, false, false, true, true,
-      false)), (String ((Ascii (true, false, false, false, false, true, true,
-      false)), (String ((Ascii (false, false, true, false, true, true, true,
-      false)), (String ((Ascii (true, false, false, true, false, true, true,
-      false)), (String ((Ascii (true, true, true, true, false, true, true,
-      false)), (String ((Ascii (false, true, true, true, false, true, true,
-      false)), EmptyString)))))))))))))))))))))))))))))))))))) ((String
-      ((Ascii (false, false, false, false, true, true, true, false)), (String
-      ((Ascii (true, false, false, false, false, true, true, false)), (String
-      ((Ascii (false, true, false, false, true, true, true, false)), (String
-      ((Ascii (true, true, false, false, true, true, true, false)), (String
-      ((Ascii (true, false, true, false, false, true, true, false)), (String
-      ((Ascii (true, true, false, false, true, false, true, false)), (String
-      ((Ascii (false, false, true, false, true, true, true, false)), (String
-      ((Ascii (false, true, false, false, true, true, true, false)), (String
-      ((Ascii (true, false, false, true, false, true, true, false)), (String
-      ((Ascii (false, true, true, true, false, true, true, false)), (String
-      ((Ascii (true, true, true, false, false, true, true, false)), (String
-      ((Ascii (false, true, true, false, false, false, true, false)), (String
-      ((Ascii (true, false, false, true, false, true, true, false)), (String
-      ((Ascii (true, false, true, false, false, true, true, false)), (String
-      ((Ascii (false, false, true, true, false, true, true, false)), (String
-      ((Ascii (false, false, true, false, false, true, true, false)),
-      EmptyString)))))))))))))))))))))))))))))))) :: [])) :: ((mkcut (S (S (S
-                                                                (S (S (S (S
-                                                                (S (S (S (S
-                                                                O)))))))))))
-                                                                (S (S (S (S
-                                                                (S (S (S (S
-                                                                (S (S (S (S
-                                                                O))))))))))))
-                                                                (String
-                                                                ((Ascii
-                                                                (true, true,
-                                                                false, false,
-                                                                false, false,
-                                                                true,
-                                                                false)),
-                                                                (String
-                                                                ((Ascii
-                                                                (false,
-                                                                false, false,
-                                                                true, false,
-                                                                true, true,
-                                                                false)),
-                                                                (String
-                                                                ((Ascii
-                                                                (true, false,
-                                                                true, false,
-                                                                false, true,
-                                                                true,
-                                                                false)),
-                                                                (String
-                                                                ((Ascii
-                                                                (true, true,
-                                                                false, false,
-                                                                false, true,
-                                                                true,
-                                                                false)),
-                                                                (String
-                                                                ((Ascii
-                                                                (true, true,
-                                                                false, true,
-                                                                false, true,
-                                                                true,
-                                                                false)),
-                                                                (String
-                                                                ((Ascii
-                                                                (false,
-                                                                false, true,
-                                                                false, false,
-                                                                false, true,
-                                                                false)),
-                                                                (String
-                                                                ((Ascii
-                                                                (true, false,
-                                                                false, true,
-                                                                false, true,
-                                                                true,
-                                                                false)),
-                                                                (String
-                                                                ((Ascii
-                                                                (true, true,
-                                                                true, false,
-                                                                false, true,
-                                                                true,
-                                                                false)),
-                                                                (String
-                                                                ((Ascii
-                                                                (true, false,
-                                                                false, true,
-                                                                false, true,
-                                                                true,
-                                                                false)),
-                                                                (String
-                                                                ((Ascii
-                                                                (false,
-                                                                false, true,
-                                                                false, true,
-                                                                true, true,
-                                                                false)),
-                                                                EmptyString))))))))))))))))))))
-                                                                ((String
-                                                                ((Ascii
-                                                                (false,
-                                                                false, false,
-                                                                false, true,
-                                                                true, true,
-                                                                false)),
-                                                                (String
-                                                                ((Ascii
-                                                                (true, false,
-                                                                false, false,
-                                                                false, true,
-                                                                true,
-                                                                false)),
-                                                                (String
-                                                                ((Ascii
-                                                                (false, true,
-                                                                false, false,
-                                                                true, true,
-                                                                true,
-                                                                false)),
-                                                                (String
-                                                                ((Ascii
-                                                                (true, true,
-                                                                false, false,
-                                                                true, true,
-                                                                true,
-                                                                false)),
-                                                                (String
-                                                                ((Ascii
-                                                                (true, false,
-                                                                true, false,
-                                                                false, true,
-                                                                true,
-                                                                false)),
-                                                                (String
-                                                                ((Ascii
-                                                                (true, true,
-                                                                false, false,
-                                                                true, false,
-                                                                true,
-                                                                false)),
-                                                                (String
-                                                                ((Ascii
-                                                                (false,
-                                                                false, true,
-                                                                false, true,
-                                                                true, true,
-                                                                false)),
-                                                                (String
-                                                                ((Ascii
-                                                                (false, true,
-                                                                false, false,
-                                                                true, true,
-                                                                true,
-                                                                false)),
-                                                                (String
-                                                                ((Ascii
-                                                                (true, false,
-                                                                false, true,
-                                                                false, true,
-                                                                true,
-                                                                false)),
-                                                                (String
-                                                                ((Ascii
-                                                                (false, true,
-                                                                true, true,
-                                                                false, true,
-                                                                true,
-                                                                false)),
-                                                                (String
-                                                                ((Ascii
-                                                                (true, true,
-                                                                true, false,
-                                                                false, true,
-                                                                true,
-                                                                false)),
-                                                                (String
-                                                                ((Ascii
-                                                                (false, true,
-                                                                true, false,
-                                                                false, false,
-                                                                true,
-                                                                false)),
-                                                                (String
-                                                                ((Ascii
-                                                                (true, false,
-                                                                false, true,
-                                                                false, true,
-                                                                true,
-                                                                false)),
-                                                                (String
-                                                                ((Ascii
-                                                                (true, false,
-                                                                true, false,
-                                                                false, true,
-                                                                true,
-                                                                false)),
-                                                                (String
-                                                                ((Ascii
-                                                                (false,
-                                                                false, true,
-                                                                true, false,
-                                                                true, true,
-                                                                false)),
-                                                                (String
-                                                                ((Ascii
-                                                                (false,
-                                                                false, true,
-                                                                false, false,
-                                                                true, true,
-                                                                false)),
-                                                                EmptyString)))))))))))))))))))))))))))))))) :: [])) :: (
-    (mkcut (S (S (S (S (S (S (S (S (S (S (S (S O)))))))))))) (S (S (S (S (S
-      (S (S (S (S (S (S (S (S (S (S (S O)))))))))))))))) (String ((Ascii
-      (true, false, false, false, false, false, true, false)), (String
-      ((Ascii (false, false, true, false, false, true, true, false)), (String
-      ((Ascii (false, false, true, false, false, true, true, false)), (String
-      ((Ascii (true, false, true, false, false, true, true, false)), (String
-      ((Ascii (false, true, true, true, false, true, true, false)), (String
-      ((Ascii (false, false, true, false, false, true, true, false)), (String
-      ((Ascii (true, false, false, false, false, true, true, false)), (String
-      ((Ascii (false, true, false, false, true, false, true, false)), (String
-      ((Ascii (true, false, true, false, false, true, true, false)), (String
-      ((Ascii (true, true, false, false, false, true, true, false)), (String
-      ((Ascii (true, true, true, true, false, true, true, false)), (String
-      ((Ascii (false, true, false, false, true, true, true, false)), (String
-      ((Ascii (false, false, true, false, false, true, true, false)), (String
-      ((Ascii (true, true, false, false, true, true, true, false)),
-      EmptyString)))))))))))))))))))))))))))) ((String ((Ascii (false, false,
-      false, false, true, true, true, false)), (String ((Ascii (true, false,
-      false, false, false, true, true, false)), (String ((Ascii (false, true,
-      false, false, true, true, true, false)), (String ((Ascii (true, true,
-      false, false, true, true, true, false)), (String ((Ascii (true, false,
-      true, false, false, true, true, false)), (String ((Ascii (false, true,
-      true, true, false, false, true, false)), (String ((Ascii (true, false,
-      true, false, true, true, true, false)), (String ((Ascii (true, false,
-      true, true, false, true, true, false)), (String ((Ascii (false, true,
-      true, false, false, false, true, false)), (String ((Ascii (true, false,
-      false, true, false, true, true, false)), (String ((Ascii (true, false,
-      true, false, false, true, true, false)), (String ((Ascii (false, false,
-      true, true, false, true, true, false)), (String ((Ascii (false, false,
-      true, false, false, true, true, false)),
-      EmptyString)))))))))))))))))))))))))) :: [])) :: ((mkcut (S (S (S (S (S
-                                                          (S (S (S (S (S (S
-                                                          (S (S (S (S (S
-                                                          O))))))))))))))))
-                                                          (S (S (S (S (S (S
-                                                          (S (S (S (S (S (S
-                                                          (S (S (S (S (S (S
-                                                          (S (S (S (S (S (S
-                                                          (S (S (S (S (S
-                                                          O)))))))))))))))))))))))))))))
-                                                          EmptyString []) :: (
-    (mkcut (S (S (S (S (S (S (S (S (S (S (S (S (S (S (S (S (S (S (S (S (S (S
-      (S (S (S (S (S (S (S O))))))))))))))))))))))))))))) (S (S (S (S (S (S
-      (S (S (S (S (S (S (S (S (S (S (S (S (S (S (S (S (S (S (S (S (S (S (S (S
-      (S (S (S (S (S (S (S (S (S O)))))))))))))))))))))))))))))))))))))))
-      (String ((Ascii (true, false, false, false, false, false, true,
-      false)), (String ((Ascii (true, false, true, true, false, true, true,
-      false)), (String ((Ascii (true, true, true, true, false, true, true,
-      false)), (String ((Ascii (true, false, true, false, true, true, true,
-      false)), (String ((Ascii (false, true, true, true, false, true, true,
-      false)), (String ((Ascii (false, false, true, false, true, true, true,
-      false)), EmptyString)))))))))))) ((String ((Ascii (false, false, false,
-      false, true, true, true, false)), (String ((Ascii (true, false, false,
-      false, false, true, true, false)), (String ((Ascii (false, true, false,
-      false, true, true, true, false)), (String ((Ascii (true, true, false,
-      false, true, true, true, false)), (String ((Ascii (true, false, true,
-      false, false, true, true, false)), (String ((Ascii (false, true, true,
-      true, false, false, true, false)), (String ((Ascii (true, false, true,
-      false, true, true, true, false)), (String ((Ascii (true, false, true,
-      true, false, true, true, false)), (String ((Ascii (false, true, true,
-      false, false, false, true, false)), (String ((Ascii (true, false,
-      false, true, false, true, true, false)), (String ((Ascii (true, false,
-      true, false, false, true, true, false)), (String ((Ascii (false, false,
-      true, true, false, true, true, false)), (String ((Ascii (false, false,
-      true, false, false, true, true, false)),
-      EmptyString)))))))))))))))))))))))))) :: [])) :: ((mkcut (S (S (S (S (S
-                                                          (S (S (S (S (S (S
-                                                          (S (S (S (S (S (S
-                                                          (S (S (S (S (S (S
-                                                          (S (S (S (S (S (S
-                                                          (S (S (S (S (S (S
-                                                          (S (S (S (S
-                                                          O)))))))))))))))))))))))))))))))))))))))
-                                                          (S (S (S (S (S (S
-                                                          (S (S (S (S (S (S
-                                                          (S (S (S (S (S (S
-                                                          (S (S (S (S (S (S
-                                                          (S (S (S (S (S (S
-                                                          (S (S (S (S (S (S
-                                                          (S (S (S (S (S (S
-                                                          (S (S (S (S (S (S
-                                                          (S (S (S (S (S (S
-                                                          (S (S (S (S (S (S
-                                                          (S (S (S (S (S (S
-                                                          (S (S (S (S (S (S
-                                                          (S (S
-                                                          O))))))))))))))))))))))))))))))))))))))))))))))))))))))))))))))))))))))))))
-                                                          (String ((Ascii
-                                                          (false, false,
-                                                          true, false, false,
-                                                          false, true,
-                                                          false)), (String
-                                                          ((Ascii (false,
-                                                          true, true, false,
-                                                          false, false, true,
-                                                          false)), (String
-                                                          ((Ascii (true,
-                                                          false, false, true,
-                                                          false, false, true,
-                                                          false)), (String
-                                                          ((Ascii (true,
-                                                          false, false,
-                                                          false, false,
-                                                          false, true,
-                                                          false)), (String
-                                                          ((Ascii (true,
-                                                          true, false, false,
-                                                          false, true, true,
-                                                          false)), (String
-                                                          ((Ascii (true,
-                                                          true, false, false,
-                                                          false, true, true,
-                                                          false)), (String
-                                                          ((Ascii (true,
-                                                          true, true, true,
-                                                          false, true, true,
-                                                          false)), (String
-                                                          ((Ascii (true,
-                                                          false, true, false,
-                                                          true, true, true,
-                                                          false)), (String
-                                                          ((Ascii (false,
-                                                          true, true, true,
-                                                          false, true, true,
-                                                          false)), (String
-                                                          ((Ascii (false,
-                                                          false, true, false,
-                                                          true, true, true,
-                                                          false)), (String
-                                                          ((Ascii (false,
-                                                          true, true, true,
-                                                          false, false, true,
-                                                          false)), (String
-                                                          ((Ascii (true,
-                                                          false, true, false,
-                                                          true, true, true,
-                                                          false)), (String
-                                                          ((Ascii (true,
-                                                          false, true, true,
-                                                          false, true, true,
-                                                          false)), (String
-                                                          ((Ascii (false,
-                                                          true, false, false,
-                                                          false, true, true,
-                                                          false)), (String
-                                                          ((Ascii (true,
-                                                          false, true, false,
-                                                          false, true, true,
-                                                          false)), (String
-                                                          ((Ascii (false,
-                                                          true, false, false,
-                                                          true, true, true,
-                                                          false)),
-                                                          EmptyString))))))))))))))))))))))))))))))))
-                                                          ((String ((Ascii
-                                                          (false, false,
-                                                          false, false, true,
-                                                          true, true,
-                                                          false)), (String
-                                                          ((Ascii (true,
-                                                          false, false,
-                                                          false, false, true,
-                                                          true, false)),
-                                                          (String ((Ascii
-                                                          (false, true,
-                                                          false, false, true,
-                                                          true, true,
-                                                          false)), (String
-                                                          ((Ascii (true,
-                                                          true, false, false,
-                                                          true, true, true,
-                                                          false)), (String
-                                                          ((Ascii (true,
-                                                          false, true, false,
-                                                          false, true, true,
-                                                          false)), (String
-                                                          ((Ascii (true,
-                                                          true, false, false,
-                                                          true, false, true,
-                                                          false)), (String
-                                                          ((Ascii (false,
-                                                          false, true, false,
-                                                          true, true, true,
-                                                          false)), (String
-                                                          ((Ascii (false,
-                                                          true, false, false,
-                                                          true, true, true,
-                                                          false)), (String
-                                                          ((Ascii (true,
-                                                          false, false, true,
-                                                          false, true, true,
-                                                          false)), (String
-                                                          ((Ascii (false,
-                                                          true, true, true,
-                                                          false, true, true,
-                                                          false)), (String
-                                                          ((Ascii (true,
-                                                          true, true, false,
-                                                          false, true, true,
-                                                          false)), (String
-                                                          ((Ascii (false,
-                                                          true, true, false,
-                                                          false, false, true,
-                                                          false)), (String
-                                                          ((Ascii (true,
-                                                          false, false, true,
-                                                          false, true, true,
-                                                          false)), (String
-                                                          ((Ascii (true,
-                                                          false, true, false,
-                                                          false, true, true,
-                                                          false)), (String
-                                                          ((Ascii (false,
-                                                          false, true, true,
-                                                          false, true, true,
-                                                          false)), (String
-                                                          ((Ascii (false,
-                                                          false, true, false,
-                                                          false, true, true,
-                                                          false)), (String
-                                                          ((Ascii (true,
-                                                          true, true, false,
-                                                          true, false, true,
-                                                          false)), (String
-                                                          ((Ascii (true,
-                                                          false, false, true,
-                                                          false, true, true,
-                                                          false)), (String
-                                                          ((Ascii (false,
-                                                          false, true, false,
-                                                          true, true, true,
-                                                          false)), (String
-                                                          ((Ascii (false,
-                                                          false, false, true,
-                                                          false, true, true,
-                                                          false)), (String
-                                                          ((Ascii (true,
-                                                          true, true, true,
-                                                          false, false, true,
-                                                          false)), (String
-                                                          ((Ascii (false,
-                                                          false, false,
-                                                          false, true, true,
-                                                          true, false)),
-                                                          (String ((Ascii
-                                                          (false, false,
-                                                          true, false, true,
-                                                          true, true,
-                                                          false)), (String
-                                                          ((Ascii (true,
-                                                          true, false, false,
-                                                          true, true, true,
-                                                          false)),
-                                                          EmptyString)))))))))))))))))))))))))))))))))))))))))))))))) :: [])) :: (
-    (mkcut (S (S (S (S (S (S (S (S (S (S (S (S (S (S (S (S (S (S (S (S (S (S
-      (S (S (S (S (S (S (S (S (S (S (S (S (S (S (S (S (S (S (S (S (S (S (S (S
-      (S (S (S (S (S (S (S (S (S (S (S (S (S (S (S (S (S (S (S (S (S (S (S (S
-      (S (S (S (S
-      O))))))))))))))))))))))))))))))))))))))))))))))))))))))))))))))))))))))))))
-      (S (S (S (S (S (S (S (S (S (S (S (S (S (S (S (S (S (S (S (S (S (S (S (S
-      (S (S (S (S (S (S (S (S (S (S (S (S (S (S (S (S (S (S (S (S (S (S (S (S
-      (S (S (S (S (S (S (S (S (S (S (S (S (S (S (S (S (S (S (S (S (S (S (S (S
-      (S (S (S (S
-      O))))))))))))))))))))))))))))))))))))))))))))))))))))))))))))))))))))))))))))
-      EmptyString []) :: ((mkcut (S (S (S (S (S (S (S (S (S (S (S (S (S (S (S
-                            (S (S (S (S (S (S (S (S (S (S (S (S (S (S (S (S
-                            (S (S (S (S (S (S (S (S (S (S (S (S (S (S (S (S
-                            (S (S (S (S (S (S (S (S (S (S (S (S (S (S (S (S
-                            (S (S (S (S (S (S (S (S (S (S (S (S (S
-                            O))))))))))))))))))))))))))))))))))))))))))))))))))))))))))))))))))))))))))))
-                            (S (S (S (S (S (S (S (S (S (S (S (S (S (S (S (S
-                            (S (S (S (S (S (S (S (S (S (S (S (S (S (S (S (S
-                            (S (S (S (S (S (S (S (S (S (S (S (S (S (S (S (S
-                            (S (S (S (S (S (S (S (S (S (S (S (S (S (S (S (S
-                            (S (S (S (S (S (S (S (S (S (S (S (S (S
-                            O)))))))))))))))))))))))))))))))))))))))))))))))))))))))))))))))))))))))))))))
-                            EmptyString []) :: ((mkconst (String ((Ascii
-                                                  (true, true, true, true,
-                                                  false, false, true,
-                                                  false)), (String ((Ascii
-                                                  (false, true, true, false,
-                                                  false, false, true,
-                                                  false)), (String ((Ascii
-                                                  (true, false, false, false,
-                                                  false, false, true,
-                                                  false)), (String ((Ascii
-                                                  (true, true, false, false,
-                                                  false, false, true,
-                                                  false)), (String ((Ascii
-                                                  (true, true, false, false,
-                                                  true, false, true, false)),
-                                                  (String ((Ascii (true,
-                                                  true, false, false, false,
-                                                  true, true, false)),
-                                                  (String ((Ascii (false,
-                                                  true, false, false, true,
-                                                  true, true, false)),
-                                                  (String ((Ascii (true,
-                                                  false, true, false, false,
-                                                  true, true, false)),
-                                                  (String ((Ascii (true,
-                                                  false, true, false, false,
-                                                  true, true, false)),
-                                                  (String ((Ascii (false,
-                                                  true, true, true, false,
-                                                  true, true, false)),
-                                                  (String ((Ascii (true,
-                                                  false, false, true, false,
-                                                  true, true, false)),
-                                                  (String ((Ascii (false,
-                                                  true, true, true, false,
-                                                  true, true, false)),
-                                                  (String ((Ascii (true,
-                                                  true, true, false, false,
-                                                  true, true, false)),
-                                                  (String ((Ascii (true,
-                                                  false, false, true, false,
-                                                  false, true, false)),
-                                                  (String ((Ascii (false,
-                                                  true, true, true, false,
-                                                  true, true, false)),
-                                                  (String ((Ascii (false,
-                                                  false, true, false, false,
-                                                  true, true, false)),
-                                                  (String ((Ascii (true,
-                                                  false, false, true, false,
-                                                  true, true, false)),
-                                                  (String ((Ascii (true,
-                                                  true, false, false, false,
-                                                  true, true, false)),
-                                                  (String ((Ascii (true,
-                                                  false, false, false, false,
-                                                  true, true, false)),
-                                                  (String ((Ascii (false,
-                                                  false, true, false, true,
-                                                  true, true, false)),
-                                                  (String ((Ascii (true,
-                                                  true, true, true, false,
-                                                  true, true, false)),
-                                                  (String ((Ascii (false,
-                                                  true, false, false, true,
-                                                  true, true, false)),
-                                                  EmptyString))))))))))))))))))))))))))))))))))))))))))))
-                                                  ((Npos (XO (XO (XO (XO (XO
-                                                  XH)))))) :: [])) :: (
-    (mkcut (S (S (S (S (S (S (S (S (S (S (S (S (S (S (S (S (S (S (S (S (S (S
-      (S (S (S (S (S (S (S (S (S (S (S (S (S (S (S (S (S (S (S (S (S (S (S (S
-      (S (S (S (S (S (S (S (S (S (S (S (S (S (S (S (S (S (S (S (S (S (S (S (S
-      (S (S (S (S (S (S (S
-      O)))))))))))))))))))))))))))))))))))))))))))))))))))))))))))))))))))))))))))))
-      (S (S (S (S (S (S (S (S (S (S (S (S (S (S (S (S (S (S (S (S (S (S (S (S
-      (S (S (S (S (S (S (S (S (S (S (S (S (S (S (S (S (S (S (S (S (S (S (S (S
-      (S (S (S (S (S (S (S (S (S (S (S (S (S (S (S (S (S (S (S (S (S (S (S (S
-      (S (S (S (S (S (S
-      O))))))))))))))))))))))))))))))))))))))))))))))))))))))))))))))))))))))))))))))
-      EmptyString []) :: ((mkconst (String ((Ascii (true, true, false, false,
-                            true, false, true, false)), (String ((Ascii
-                            (true, false, true, false, false, true, true,
-                            false)), (String ((Ascii (true, true, false,
-                            false, false, true, true, false)), (String
-                            ((Ascii (true, true, true, true, false, true,
-                            true, false)), (String ((Ascii (false, true,
-                            true, true, false, true, true, false)), (String
-                            ((Ascii (false, false, true, false, false, true,
-                            true, false)), (String ((Ascii (true, false,
-                            false, false, false, true, true, false)), (String
-                            ((Ascii (false, true, false, false, true, true,
-                            true, false)), (String ((Ascii (true, false,
-                            false, true, true, true, true, false)), (String
-                            ((Ascii (true, true, true, true, false, false,
-                            true, false)), (String ((Ascii (false, true,
-                            true, false, false, false, true, false)), (String
-                            ((Ascii (true, false, false, false, false, false,
-                            true, false)), (String ((Ascii (true, true,
-                            false, false, false, false, true, false)),
-                            (String ((Ascii (true, true, false, false, true,
-                            false, true, false)), (String ((Ascii (true,
-                            true, false, false, false, true, true, false)),
-                            (String ((Ascii (false, true, false, false, true,
-                            true, true, false)), (String ((Ascii (true,
-                            false, true, false, false, true, true, false)),
-                            (String ((Ascii (true, false, true, false, false,
-                            true, true, false)), (String ((Ascii (false,
-                            true, true, true, false, true, true, false)),
-                            (String ((Ascii (true, false, false, true, false,
-                            true, true, false)), (String ((Ascii (false,
-                            true, true, true, false, true, true, false)),
-                            (String ((Ascii (true, true, true, false, false,
-                            true, true, false)), (String ((Ascii (true,
-                            false, false, true, false, false, true, false)),
-                            (String ((Ascii (false, true, true, true, false,
-                            true, true, false)), (String ((Ascii (false,
-                            false, true, false, false, true, true, false)),
-                            (String ((Ascii (true, false, false, true, false,
-                            true, true, false)), (String ((Ascii (true, true,
-                            false, false, false, true, true, false)), (String
-                            ((Ascii (true, false, false, false, false, true,
-                            true, false)), (String ((Ascii (false, false,
-                            true, false, true, true, true, false)), (String
-                            ((Ascii (true, true, true, true, false, true,
-                            true, false)), (String ((Ascii (false, true,
-                            false, false, true, true, true, false)),
-                            EmptyString))))))))))))))))))))))))))))))))))))))))))))))))))))))))))))))
-                            ((Npos (XO (XO (XO (XO (XO XH)))))) :: [])) :: (
-    (mkcut (S (S (S (S (S (S (S (S (S (S (S (S (S (S (S (S (S (S (S (S (S (S
-      (S (S (S (S (S (S (S (S (S (S (S (S (S (S (S (S (S (S (S (S (S (S (S (S
-      (S (S (S (S (S (S (S (S (S (S (S (S (S (S (S (S (S (S (S (S (S (S (S (S
-      (S (S (S (S (S (S (S (S
-      O))))))))))))))))))))))))))))))))))))))))))))))))))))))))))))))))))))))))))))))
-      (S (S (S (S (S (S (S (S (S (S (S (S (S (S (S (S (S (S (S (S (S (S (S (S
-      (S (S (S (S (S (S (S (S (S (S (S (S (S (S (S (S (S (S (S (S (S (S (S (S
-      (S (S (S (S (S (S (S (S (S (S (S (S (S (S (S (S (S (S (S (S (S (S (S (S
-      (S (S (S (S (S (S (S
-      O)))))))))))))))))))))))))))))))))))))))))))))))))))))))))))))))))))))))))))))))
-      (String ((Ascii (true, false, false, false, false, false, true,
-      false)), (String ((Ascii (false, false, true, false, false, true, true,
-      false)), (String ((Ascii (false, false, true, false, false, true, true,
-      false)), (String ((Ascii (true, false, true, false, false, true, true,
-      false)), (String ((Ascii (false, true, true, true, false, true, true,
-      false)), (String ((Ascii (false, false, true, false, false, true, true,
-      false)), (String ((Ascii (true, false, false, false, false, true, true,
-      false)), (String ((Ascii (false, true, false, false, true, false, true,
-      false)), (String ((Ascii (true, false, true, false, false, true, true,
-      false)), (String ((Ascii (true, true, false, false, false, true, true,
-      false)), (String ((Ascii (true, true, true, true, false, true, true,
-      false)), (String ((Ascii (false, true, false, false, true, true, true,
-      false)), (String ((Ascii (false, false, true, false, false, true, true,
-      false)), (String ((Ascii (true, false, false, true, false, false, true,
-      false)), (String ((Ascii (false, true, true, true, false, true, true,
-      false)), (String ((Ascii (false, false, true, false, false, true, true,
-      false)), (String ((Ascii (true, false, false, true, false, true, true,
-      false)), (String ((Ascii (true, true, false, false, false, true, true,
-      false)), (String ((Ascii (true, false, false, false, false, true, true,
-      false)), (String ((Ascii (false, false, true, false, true, true, true,
-      false)), (String ((Ascii (true, true, true, true, false, true, true,
-      false)), (String ((Ascii (false, true, false, false, true, true, true,
-      false)), EmptyString))))))))))))))))))))))))))))))))))))))))))))
-      ((String ((Ascii (false, false, false, false, true, true, true,
-      false)), (String ((Ascii (true, false, false, false, false, true, true,
-      false)), (String ((Ascii (false, true, false, false, true, true, true,
-      false)), (String ((Ascii (true, true, false, false, true, true, true,
-      false)), (String ((Ascii (true, false, true, false, false, true, true,
-      false)), (String ((Ascii (false, true, true, true, false, false, true,
-      false)), (String ((Ascii (true, false, true, false, true, true, true,
-      false)), (String ((Ascii (true, false, true, true, false, true, true,
-      false)), (String ((Ascii (false, true, true, false, false, false, true,
-      false)), (String ((Ascii (true, false, false, true, false, true, true,
-      false)), (String ((Ascii (true, false, true, false, false, true, true,
-      false)), (String ((Ascii (false, false, true, true, false, true, true,
-      false)), (String ((Ascii (false, false, true, false, false, true, true,
-      false)), EmptyString)))))))))))))))))))))))))) :: [])) :: ((mkcut (S (S
-                                                                   (S (S (S
-                                                                   (S (S (S
-                                                                   (S (S (S
-                                                                   (S (S (S
-                                                                   (S (S (S
-                                                                   (S (S (S
-                                                                   (S (S (S
-                                                                   (S (S (S
-                                                                   (S (S (S
-                                                                   (S (S (S
-                                                                   (S (S (S
-                                                                   (S (S (S
-                                                                   (S (S (S
-                                                                   (S (S (S
-                                                                   (S (S (S
-                                                                   (S (S (S
-                                                                   (S (S (S
-                                                                   (S (S (S
-                                                                   (S (S (S
-                                                                   (S (S (S
-                                                                   (S (S (S
-                                                                   (S (S (S
-                                                                   (S (S (S
-                                                                   (S (S (S
-                                                                   (S (S (S
-                                                                   (S (S
-                                                                   O)))))))))))))))))))))))))))))))))))))))))))))))))))))))))))))))))))))))))))))))
-                                                                   (S (S (S
-                                                                   (S (S (S
-                                                                   (S (S (S
-                                                                   (S (S (S
-                                                                   (S (S (S
-                                                                   (S (S (S
-                                                                   (S (S (S
-                                                                   (S (S (S
-                                                                   (S (S (S
-                                                                   (S (S (S
-                                                                   (S (S (S
-                                                                   (S (S (S
-                                                                   (S (S (S
-                                                                   (S (S (S
-                                                                   (S (S (S
-                                                                   (S (S (S
-                                                                   (S (S (S
-                                                                   (S (S (S
-                                                                   (S (S (S
-                                                                   (S (S (S
-                                                                   (S (S (S
-                                                                   (S (S (S
-                                                                   (S (S (S
-                                                                   (S (S (S
-                                                                   (S (S (S
-                                                                   (S (S (S
-                                                                   (S (S (S
-                                                                   (S (S (S
-                                                                   (S (S (S
-                                                                   (S (S (S
-                                                                   (S (S (S
-                                                                   (S
-                                                                   O))))))))))))))))))))))))))))))))))))))))))))))))))))))))))))))))))))))))))))))))))))))))))))))
-                                                                   (String
-                                                                   ((Ascii
-                                                                   (false,
-                                                                   false,
-                                                                   true,
-                                                                   false,
-                                                                   true,
-                                                                   false,
-                                                                   true,
-                                                                   false)),
-                                                                   (String
-                                                                   ((Ascii
-                                                                   (false,
-                                                                   true,
-                                                                   false,
-                                                                   false,
-                                                                   true,
-                                                                   true,
-                                                                   true,
-                                                                   false)),
-                                                                   (String
-                                                                   ((Ascii
-                                                                   (true,
-                                                                   false,
-                                                                   false,
-                                                                   false,
-                                                                   false,
-                                                                   true,
-                                                                   true,
-                                                                   false)),
-                                                                   (String
-                                                                   ((Ascii
-                                                                   (true,
-                                                                   true,
-                                                                   false,
-                                                                   false,
-                                                                   false,
-                                                                   true,
-                                                                   true,
-                                                                   false)),
-                                                                   (String
-                                                                   ((Ascii
-                                                                   (true,
-                                                                   false,
-                                                                   true,
-                                                                   false,
-                                                                   false,
-                                                                   true,
-                                                                   true,
-                                                                   false)),
-                                                                   (String
-                                                                   ((Ascii
-                                                                   (false,
-                                                                   true,
-                                                                   true,
-                                                                   true,
-                                                                   false,
-                                                                   false,
-                                                                   true,
-                                                                   false)),
-                                                                   (String
-                                                                   ((Ascii
-                                                                   (true,
-                                                                   false,
-                                                                   true,
-                                                                   false,
-                                                                   true,
-                                                                   true,
-                                                                   true,
-                                                                   false)),
-                                                                   (String
-                                                                   ((Ascii
-                                                                   (true,
-                                                                   false,
-                                                                   true,
-                                                                   true,
-                                                                   false,
-                                                                   true,
-                                                                   true,
-                                                                   false)),
-                                                                   (String
-                                                                   ((Ascii
-                                                                   (false,
-                                                                   true,
-                                                                   false,
-                                                                   false,
-                                                                   false,
-                                                                   true,
-                                                                   true,
-                                                                   false)),
-                                                                   (String
-                                                                   ((Ascii
-                                                                   (true,
-                                                                   false,
-                                                                   true,
-                                                                   false,
-                                                                   false,
-                                                                   true,
-                                                                   true,
-                                                                   false)),
-                                                                   (String
-                                                                   ((Ascii
-                                                                   (false,
-                                                                   true,
-                                                                   false,
-                                                                   false,
-                                                                   true,
-                                                                   true,
-                                                                   true,
-                                                                   false)),
-                                                                   EmptyString))))))))))))))))))))))
-                                                                   ((String
-                                                                   ((Ascii
-                                                                   (true,
-                                                                   true,
-                                                                   false,
-                                                                   false,
-                                                                   true,
-                                                                   true,
-                                                                   true,
-                                                                   false)),
-                                                                   (String
-                                                                   ((Ascii
-                                                                   (false,
-                                                                   false,
-                                                                   true,
-                                                                   false,
-                                                                   true,
-                                                                   true,
-                                                                   true,
-                                                                   false)),
-                                                                   (String
-                                                                   ((Ascii
-                                                                   (false,
-                                                                   true,
-                                                                   false,
-                                                                   false,
-                                                                   true,
-                                                                   true,
-                                                                   true,
-                                                                   false)),
-                                                                   (String
-                                                                   ((Ascii
-                                                                   (true,
-                                                                   false,
-                                                                   false,
-                                                                   true,
-                                                                   false,
-                                                                   true,
-                                                                   true,
-                                                                   false)),
-                                                                   (String
-                                                                   ((Ascii
-                                                                   (false,
-                                                                   true,
-                                                                   true,
-                                                                   true,
-                                                                   false,
-                                                                   true,
-                                                                   true,
-                                                                   false)),
-                                                                   (String
-                                                                   ((Ascii
-                                                                   (true,
-                                                                   true,
-                                                                   true,
-                                                                   false,
-                                                                   false,
-                                                                   true,
-                                                                   true,
-                                                                   false)),
-                                                                   (String
-                                                                   ((Ascii
-                                                                   (true,
-                                                                   true,
-                                                                   false,
-                                                                   false,
-                                                                   true,
-                                                                   true,
-                                                                   true,
-                                                                   false)),
-                                                                   (String
-                                                                   ((Ascii
-                                                                   (false,
-                                                                   true,
-                                                                   true,
-                                                                   true,
-                                                                   false,
-                                                                   true,
-                                                                   false,
-                                                                   false)),
-                                                                   (String
-                                                                   ((Ascii
-                                                                   (false,
-                                                                   false,
-                                                                   true,
-                                                                   false,
-                                                                   true,
-                                                                   false,
-                                                                   true,
-                                                                   false)),
-                                                                   (String
-                                                                   ((Ascii
-                                                                   (false,
-                                                                   true,
-                                                                   false,
-                                                                   false,
-                                                                   true,
-                                                                   true,
-                                                                   true,
-                                                                   false)),
-                                                                   (String
-                                                                   ((Ascii
-                                                                   (true,
-                                                                   false,
-                                                                   false,
-                                                                   true,
-                                                                   false,
-                                                                   true,
-                                                                   true,
-                                                                   false)),
-                                                                   (String
-                                                                   ((Ascii
-                                                                   (true,
-                                                                   false,
-                                                                   true,
-                                                                   true,
-                                                                   false,
-                                                                   true,
-                                                                   true,
-                                                                   false)),
-                                                                   (String
-                                                                   ((Ascii
-                                                                   (true,
-                                                                   true,
-                                                                   false,
-                                                                   false,
-                                                                   true,
-                                                                   false,
-                                                                   true,
-                                                                   false)),
-                                                                   (String
-                                                                   ((Ascii
-                                                                   (false,
-                                                                   false,
-                                                                   false,
-                                                                   false,
-                                                                   true,
-                                                                   true,
-                                                                   true,
-                                                                   false)),
-                                                                   (String
-                                                                   ((Ascii
-                                                                   (true,
-                                                                   false,
-                                                                   false,
-                                                                   false,
-                                                                   false,
-                                                                   true,
-                                                                   true,
-                                                                   false)),
-                                                                   (String
-                                                                   ((Ascii
-                                                                   (true,
-                                                                   true,
-                                                                   false,
-                                                                   false,
-                                                                   false,
-                                                                   true,
-                                                                   true,
-                                                                   false)),
-                                                                   (String
-                                                                   ((Ascii
-                                                                   (true,
-                                                                   false,
-                                                                   true,
-                                                                   false,
-                                                                   false,
-                                                                   true,
-                                                                   true,
-                                                                   false)),
-                                                                   EmptyString)))))))))))))))))))))))))))))))))) :: [])) :: []))))))))))))))) }
-
-(** val all_layouts : layout list **)
-
-let all_layouts =
-  l_ADVBatchControl :: (l_ADVEntryDetail :: (l_ADVFileControl :: (l_Addenda02 :: (l_Addenda05 :: (l_Addenda10 :: (l_Addenda11 :: (l_Addenda12 :: (l_Addenda13 :: (l_Addenda14 :: (l_Addenda15 :: (l_Addenda16 :: (l_Addenda17 :: (l_Addenda18 :: (l_Addenda98 :: (l_Addenda98Refused :: (l_Addenda99 :: (l_Addenda99Contested :: (l_Addenda99Dishonored :: (l_BatchControl :: (l_BatchHeader :: (l_EntryDetail :: (l_FileControl :: (l_FileHeader :: (l_IATBatchHeader :: (l_IATEntryDetail :: [])))))))))))))))))))))))))
+let flatten_hint_checked inp hint =
+  option_map checked (flatten_hint inp hint)
